@@ -51,18 +51,11 @@ def Euler.toQuat_XYZ {α : Type} [Add α] [Sub α] [Mul α] [Div α] [OfNat α 1
 
 /-- extracted from the C++ template at T = Sym; 1 path(s) -/
 def Euler.extractM33_XYZ {α : Type} [Add α] [Mul α] [Neg α] [OfNat α 0] [OfNat α 1] (sqrt : α → α) (sin : α → α) (cos : α → α) (atan2 : α → α → α) (m : M33 α) : (V3 α) :=
-  let t64 := (atan2 m.x12 m.x22)
-  let t65 := (-t64)
   let t66 := (cos (0 : α))
-  let t67 := (cos t65)
   let t68 := (sin (0 : α))
-  let t69 := (sin t65)
   let t70 := (t66 * t66)
   let t71 := (t68 * t66)
   let t72 := (-t68)
-  let t76 := ((t72 * t67) + ((t66 * t68) * t69))
-  let t80 := ((t66 * t67) + ((t68 * t68) * t69))
-  let t81 := (t66 * t69)
   let t89 := ((0 : α) * t72)
   let t90 := ((0 : α) * t71)
   let t93 := ((((1 : α) * t70) + t90) + t89)
@@ -70,33 +63,18 @@ def Euler.extractM33_XYZ {α : Type} [Add α] [Mul α] [Neg α] [OfNat α 0] [Of
   let t97 := ((t95 + ((1 : α) * t71)) + t89)
   let t99 := (t95 + t90)
   let t100 := (t99 + ((1 : α) * t72))
-  let t102 := ((0 : α) * t81)
-  let t103 := ((0 : α) * t80)
-  let t106 := ((((1 : α) * t76) + t103) + t102)
-  let t108 := ((0 : α) * t76)
-  let t110 := ((t108 + ((1 : α) * t80)) + t102)
-  let t112 := (t108 + t103)
-  let t113 := (t112 + ((1 : α) * t81))
   let t128 := ((t99 + t89) * (0 : α))
   let t134 := ((((t93 * m.x00) + (t97 * m.x10)) + (t100 * m.x20)) + t128)
   let t140 := ((((t93 * m.x01) + (t97 * m.x11)) + (t100 * m.x21)) + t128)
-  let t154 := ((t112 + t102) * (0 : α))
-  ⟨t64, (atan2 (-((((t93 * m.x02) + (t97 * m.x12)) + (t100 * m.x22)) + t128)) (sqrt ((t134 * t134) + (t140 * t140)))), (atan2 (-((((t106 * m.x00) + (t110 * m.x10)) + (t113 * m.x20)) + t154)) ((((t106 * m.x01) + (t110 * m.x11)) + (t113 * m.x21)) + t154))⟩
+  ⟨(atan2 m.x12 m.x22), (atan2 (-((((t93 * m.x02) + (t97 * m.x12)) + (t100 * m.x22)) + t128)) (sqrt ((t134 * t134) + (t140 * t140)))), (atan2 m.x01 m.x00)⟩
 
 /-- extracted from the C++ template at T = Sym; 1 path(s) -/
 def Euler.extractM44_XYZ {α : Type} [Add α] [Mul α] [Neg α] [OfNat α 0] [OfNat α 1] (sqrt : α → α) (sin : α → α) (cos : α → α) (atan2 : α → α → α) (m : M44 α) : (V3 α) :=
-  let t64 := (atan2 m.x12 m.x22)
-  let t65 := (-t64)
   let t66 := (cos (0 : α))
-  let t67 := (cos t65)
   let t68 := (sin (0 : α))
-  let t69 := (sin t65)
   let t70 := (t66 * t66)
   let t71 := (t68 * t66)
   let t72 := (-t68)
-  let t76 := ((t72 * t67) + ((t66 * t68) * t69))
-  let t80 := ((t66 * t67) + ((t68 * t68) * t69))
-  let t81 := (t66 * t69)
   let t89 := ((0 : α) * t72)
   let t90 := ((0 : α) * t71)
   let t93 := ((((1 : α) * t70) + t90) + t89)
@@ -105,32 +83,17 @@ def Euler.extractM44_XYZ {α : Type} [Add α] [Mul α] [Neg α] [OfNat α 0] [Of
   let t99 := (t95 + t90)
   let t100 := (t99 + ((1 : α) * t72))
   let t101 := (t99 + t89)
-  let t102 := ((0 : α) * t81)
-  let t103 := ((0 : α) * t80)
-  let t106 := ((((1 : α) * t76) + t103) + t102)
-  let t108 := ((0 : α) * t76)
-  let t110 := ((t108 + ((1 : α) * t80)) + t102)
-  let t112 := (t108 + t103)
-  let t113 := (t112 + ((1 : α) * t81))
-  let t114 := (t112 + t102)
-  let t246 := ((((t93 * m.x00) + (t97 * m.x10)) + (t100 * m.x20)) + (t101 * m.x30))
-  let t248 := ((((t93 * m.x01) + (t97 * m.x11)) + (t100 * m.x21)) + (t101 * m.x31))
-  ⟨t64, (atan2 (-((((t93 * m.x02) + (t97 * m.x12)) + (t100 * m.x22)) + (t101 * m.x32))) (sqrt ((t246 * t246) + (t248 * t248)))), (atan2 (-((((t106 * m.x00) + (t110 * m.x10)) + (t113 * m.x20)) + (t114 * m.x30))) ((((t106 * m.x01) + (t110 * m.x11)) + (t113 * m.x21)) + (t114 * m.x31)))⟩
+  let t245 := ((((t93 * m.x00) + (t97 * m.x10)) + (t100 * m.x20)) + (t101 * m.x30))
+  let t247 := ((((t93 * m.x01) + (t97 * m.x11)) + (t100 * m.x21)) + (t101 * m.x31))
+  ⟨(atan2 m.x12 m.x22), (atan2 (-((((t93 * m.x02) + (t97 * m.x12)) + (t100 * m.x22)) + (t101 * m.x32))) (sqrt ((t245 * t245) + (t247 * t247)))), (atan2 m.x01 m.x00)⟩
 
 /-- extracted from the C++ template at T = Sym; 1 path(s) -/
 def Euler.ctorM33_XYZ {α : Type} [Add α] [Mul α] [Neg α] [OfNat α 0] [OfNat α 1] (sqrt : α → α) (sin : α → α) (cos : α → α) (atan2 : α → α → α) (m : M33 α) : ((V3 α) × Int) :=
-  let t64 := (atan2 m.x12 m.x22)
-  let t65 := (-t64)
   let t66 := (cos (0 : α))
-  let t67 := (cos t65)
   let t68 := (sin (0 : α))
-  let t69 := (sin t65)
   let t70 := (t66 * t66)
   let t71 := (t68 * t66)
   let t72 := (-t68)
-  let t76 := ((t72 * t67) + ((t66 * t68) * t69))
-  let t80 := ((t66 * t67) + ((t68 * t68) * t69))
-  let t81 := (t66 * t69)
   let t89 := ((0 : α) * t72)
   let t90 := ((0 : α) * t71)
   let t93 := ((((1 : α) * t70) + t90) + t89)
@@ -138,33 +101,18 @@ def Euler.ctorM33_XYZ {α : Type} [Add α] [Mul α] [Neg α] [OfNat α 0] [OfNat
   let t97 := ((t95 + ((1 : α) * t71)) + t89)
   let t99 := (t95 + t90)
   let t100 := (t99 + ((1 : α) * t72))
-  let t102 := ((0 : α) * t81)
-  let t103 := ((0 : α) * t80)
-  let t106 := ((((1 : α) * t76) + t103) + t102)
-  let t108 := ((0 : α) * t76)
-  let t110 := ((t108 + ((1 : α) * t80)) + t102)
-  let t112 := (t108 + t103)
-  let t113 := (t112 + ((1 : α) * t81))
   let t128 := ((t99 + t89) * (0 : α))
   let t134 := ((((t93 * m.x00) + (t97 * m.x10)) + (t100 * m.x20)) + t128)
   let t140 := ((((t93 * m.x01) + (t97 * m.x11)) + (t100 * m.x21)) + t128)
-  let t154 := ((t112 + t102) * (0 : α))
-  (⟨t64, (atan2 (-((((t93 * m.x02) + (t97 * m.x12)) + (t100 * m.x22)) + t128)) (sqrt ((t134 * t134) + (t140 * t140)))), (atan2 (-((((t106 * m.x00) + (t110 * m.x10)) + (t113 * m.x20)) + t154)) ((((t106 * m.x01) + (t110 * m.x11)) + (t113 * m.x21)) + t154))⟩, (257 : Int))
+  (⟨(atan2 m.x12 m.x22), (atan2 (-((((t93 * m.x02) + (t97 * m.x12)) + (t100 * m.x22)) + t128)) (sqrt ((t134 * t134) + (t140 * t140)))), (atan2 m.x01 m.x00)⟩, (257 : Int))
 
 /-- extracted from the C++ template at T = Sym; 1 path(s) -/
 def Euler.ctorM44_XYZ {α : Type} [Add α] [Mul α] [Neg α] [OfNat α 0] [OfNat α 1] (sqrt : α → α) (sin : α → α) (cos : α → α) (atan2 : α → α → α) (m : M44 α) : ((V3 α) × Int) :=
-  let t64 := (atan2 m.x12 m.x22)
-  let t65 := (-t64)
   let t66 := (cos (0 : α))
-  let t67 := (cos t65)
   let t68 := (sin (0 : α))
-  let t69 := (sin t65)
   let t70 := (t66 * t66)
   let t71 := (t68 * t66)
   let t72 := (-t68)
-  let t76 := ((t72 * t67) + ((t66 * t68) * t69))
-  let t80 := ((t66 * t67) + ((t68 * t68) * t69))
-  let t81 := (t66 * t69)
   let t89 := ((0 : α) * t72)
   let t90 := ((0 : α) * t71)
   let t93 := ((((1 : α) * t70) + t90) + t89)
@@ -173,17 +121,9 @@ def Euler.ctorM44_XYZ {α : Type} [Add α] [Mul α] [Neg α] [OfNat α 0] [OfNat
   let t99 := (t95 + t90)
   let t100 := (t99 + ((1 : α) * t72))
   let t101 := (t99 + t89)
-  let t102 := ((0 : α) * t81)
-  let t103 := ((0 : α) * t80)
-  let t106 := ((((1 : α) * t76) + t103) + t102)
-  let t108 := ((0 : α) * t76)
-  let t110 := ((t108 + ((1 : α) * t80)) + t102)
-  let t112 := (t108 + t103)
-  let t113 := (t112 + ((1 : α) * t81))
-  let t114 := (t112 + t102)
-  let t246 := ((((t93 * m.x00) + (t97 * m.x10)) + (t100 * m.x20)) + (t101 * m.x30))
-  let t248 := ((((t93 * m.x01) + (t97 * m.x11)) + (t100 * m.x21)) + (t101 * m.x31))
-  (⟨t64, (atan2 (-((((t93 * m.x02) + (t97 * m.x12)) + (t100 * m.x22)) + (t101 * m.x32))) (sqrt ((t246 * t246) + (t248 * t248)))), (atan2 (-((((t106 * m.x00) + (t110 * m.x10)) + (t113 * m.x20)) + (t114 * m.x30))) ((((t106 * m.x01) + (t110 * m.x11)) + (t113 * m.x21)) + (t114 * m.x31)))⟩, (257 : Int))
+  let t245 := ((((t93 * m.x00) + (t97 * m.x10)) + (t100 * m.x20)) + (t101 * m.x30))
+  let t247 := ((((t93 * m.x01) + (t97 * m.x11)) + (t100 * m.x21)) + (t101 * m.x31))
+  (⟨(atan2 m.x12 m.x22), (atan2 (-((((t93 * m.x02) + (t97 * m.x12)) + (t100 * m.x22)) + (t101 * m.x32))) (sqrt ((t245 * t245) + (t247 * t247)))), (atan2 m.x01 m.x00)⟩, (257 : Int))
 
 /-- extracted from the C++ template at T = Sym; 1 path(s) -/
 def Euler.extractQuat_XYZ {α : Type} [Add α] [Sub α] [Mul α] [Neg α] [OfNat α 0] [OfNat α 1] [OfNat α 2] (sqrt : α → α) (sin : α → α) (cos : α → α) (atan2 : α → α → α) (q : Quat α) : (V3 α) :=
@@ -200,41 +140,22 @@ def Euler.extractQuat_XYZ {α : Type} [Add α] [Sub α] [Mul α] [Neg α] [OfNat
   let t99 := (t95 + t90)
   let t100 := (t99 + ((1 : α) * t72))
   let t128 := ((t99 + t89) * (0 : α))
-  let t309 := (q.v.x * q.v.x)
-  let t310 := (q.v.y * q.v.y)
-  let t314 := ((1 : α) - ((2 : α) * (t310 + t309)))
-  let t315 := (q.v.x * q.r)
-  let t316 := (q.v.y * q.v.z)
-  let t318 := ((2 : α) * (t316 - t315))
-  let t319 := (q.v.y * q.r)
-  let t320 := (q.v.z * q.v.x)
-  let t322 := ((2 : α) * (t320 + t319))
-  let t324 := ((2 : α) * (t316 + t315))
-  let t325 := (q.v.z * q.v.z)
-  let t328 := ((1 : α) - ((2 : α) * (t325 + t309)))
-  let t329 := (q.v.z * q.r)
-  let t330 := (q.v.x * q.v.y)
-  let t332 := ((2 : α) * (t330 - t329))
-  let t336 := ((2 : α) * (t330 + t329))
-  let t339 := ((1 : α) - ((2 : α) * (t310 + t325)))
-  let t340 := (atan2 t324 t314)
-  let t341 := (-t340)
-  let t342 := (cos t341)
-  let t343 := (sin t341)
-  let t346 := ((t72 * t342) + ((t66 * t68) * t343))
-  let t349 := ((t66 * t342) + ((t68 * t68) * t343))
-  let t350 := (t66 * t343)
-  let t358 := ((0 : α) * t350)
-  let t359 := ((0 : α) * t349)
-  let t362 := ((((1 : α) * t346) + t359) + t358)
-  let t364 := ((0 : α) * t346)
-  let t366 := ((t364 + ((1 : α) * t349)) + t358)
-  let t368 := (t364 + t359)
-  let t369 := (t368 + ((1 : α) * t350))
-  let t389 := ((((t93 * t339) + (t97 * t332)) + (t100 * t322)) + t128)
-  let t395 := ((((t93 * t336) + (t97 * t328)) + (t100 * t318)) + t128)
-  let t402 := ((t368 + t358) * (0 : α))
-  ⟨t340, (atan2 (-((((t93 * ((2 : α) * (t320 - t319))) + (t97 * t324)) + (t100 * t314)) + t128)) (sqrt ((t389 * t389) + (t395 * t395)))), (atan2 (-((((t362 * t339) + (t366 * t332)) + (t369 * t322)) + t402)) ((((t362 * t336) + (t366 * t328)) + (t369 * t318)) + t402))⟩
+  let t306 := (q.v.x * q.v.x)
+  let t307 := (q.v.y * q.v.y)
+  let t311 := ((1 : α) - ((2 : α) * (t307 + t306)))
+  let t312 := (q.v.x * q.r)
+  let t313 := (q.v.y * q.v.z)
+  let t316 := (q.v.y * q.r)
+  let t317 := (q.v.z * q.v.x)
+  let t321 := ((2 : α) * (t313 + t312))
+  let t322 := (q.v.z * q.v.z)
+  let t326 := (q.v.z * q.r)
+  let t327 := (q.v.x * q.v.y)
+  let t333 := ((2 : α) * (t327 + t326))
+  let t336 := ((1 : α) - ((2 : α) * (t307 + t322)))
+  let t386 := ((((t93 * t336) + (t97 * ((2 : α) * (t327 - t326)))) + (t100 * ((2 : α) * (t317 + t316)))) + t128)
+  let t392 := ((((t93 * t333) + (t97 * ((1 : α) - ((2 : α) * (t322 + t306))))) + (t100 * ((2 : α) * (t313 - t312)))) + t128)
+  ⟨(atan2 t321 t311), (atan2 (-((((t93 * ((2 : α) * (t317 - t316))) + (t97 * t321)) + (t100 * t311)) + t128)) (sqrt ((t386 * t386) + (t392 * t392)))), (atan2 t333 t336)⟩
 
 /-- extracted from the C++ template at T = Sym; 1 path(s) -/
 def Euler.ctorXYZLayout_XYZ {α : Type} (v : V3 α) : ((V3 α) × Int) :=
@@ -289,11 +210,7 @@ def Euler.reorderFromXYZ_XYZ {α : Type} [Add α] [Sub α] [Mul α] [Neg α] [Of
   let t12 := (t7 * t6)
   let t13 := (t7 * t9)
   let t15 := (t5 * t6)
-  let t17 := ((t8 * t12) - t11)
-  let t19 := ((t8 * t10) + t13)
   let t20 := (t5 * t9)
-  let t22 := ((t8 * t13) + t10)
-  let t24 := ((t8 * t11) - t12)
   let t26 := (t5 * t7)
   let t27 := (t5 * t4)
   let t66 := (cos (0 : α))
@@ -309,24 +226,9 @@ def Euler.reorderFromXYZ_XYZ {α : Type} [Add α] [Sub α] [Mul α] [Neg α] [Of
   let t99 := (t95 + t90)
   let t100 := (t99 + ((1 : α) * t72))
   let t128 := ((t99 + t89) * (0 : α))
-  let t486 := (atan2 t26 t27)
-  let t487 := (-t486)
-  let t488 := (cos t487)
-  let t489 := (sin t487)
-  let t492 := ((t72 * t488) + ((t66 * t68) * t489))
-  let t495 := ((t66 * t488) + ((t68 * t68) * t489))
-  let t496 := (t66 * t489)
-  let t504 := ((0 : α) * t496)
-  let t505 := ((0 : α) * t495)
-  let t508 := ((((1 : α) * t492) + t505) + t504)
-  let t510 := ((0 : α) * t492)
-  let t512 := ((t510 + ((1 : α) * t495)) + t504)
-  let t514 := (t510 + t505)
-  let t515 := (t514 + ((1 : α) * t496))
-  let t535 := ((((t93 * t15) + (t97 * t17)) + (t100 * t19)) + t128)
-  let t541 := ((((t93 * t20) + (t97 * t22)) + (t100 * t24)) + t128)
-  let t548 := ((t514 + t504) * (0 : α))
-  (⟨t486, (atan2 (-((((t93 * (-t8)) + (t97 * t26)) + (t100 * t27)) + t128)) (sqrt ((t535 * t535) + (t541 * t541)))), (atan2 (-((((t508 * t15) + (t512 * t17)) + (t515 * t19)) + t548)) ((((t508 * t20) + (t512 * t22)) + (t515 * t24)) + t548))⟩, (257 : Int))
+  let t531 := ((((t93 * t15) + (t97 * ((t8 * t12) - t11))) + (t100 * ((t8 * t10) + t13))) + t128)
+  let t537 := ((((t93 * t20) + (t97 * ((t8 * t13) + t10))) + (t100 * ((t8 * t11) - t12))) + t128)
+  (⟨(atan2 t26 t27), (atan2 (-((((t93 * (-t8)) + (t97 * t26)) + (t100 * t27)) + t128)) (sqrt ((t531 * t531) + (t537 * t537)))), (atan2 t20 t15)⟩, (257 : Int))
 
 /-- extracted from the C++ template at T = Sym; 1 path(s) -/
 def Euler.reorderToZYXr_XYZ {α : Type} [Add α] [Sub α] [Mul α] [Neg α] [OfNat α 0] [OfNat α 1] (sqrt : α → α) (sin : α → α) (cos : α → α) (atan2 : α → α → α) (a : V3 α) : ((V3 α) × Int) :=
@@ -341,11 +243,7 @@ def Euler.reorderToZYXr_XYZ {α : Type} [Add α] [Sub α] [Mul α] [Neg α] [OfN
   let t12 := (t7 * t6)
   let t13 := (t7 * t9)
   let t15 := (t5 * t6)
-  let t17 := ((t8 * t12) - t11)
-  let t19 := ((t8 * t10) + t13)
   let t20 := (t5 * t9)
-  let t22 := ((t8 * t13) + t10)
-  let t24 := ((t8 * t11) - t12)
   let t26 := (t5 * t7)
   let t27 := (t5 * t4)
   let t66 := (cos (0 : α))
@@ -361,58 +259,43 @@ def Euler.reorderToZYXr_XYZ {α : Type} [Add α] [Sub α] [Mul α] [Neg α] [OfN
   let t99 := (t95 + t90)
   let t100 := (t99 + ((1 : α) * t72))
   let t128 := ((t99 + t89) * (0 : α))
-  let t486 := (atan2 t26 t27)
-  let t487 := (-t486)
-  let t488 := (cos t487)
-  let t489 := (sin t487)
-  let t492 := ((t72 * t488) + ((t66 * t68) * t489))
-  let t495 := ((t66 * t488) + ((t68 * t68) * t489))
-  let t496 := (t66 * t489)
-  let t504 := ((0 : α) * t496)
-  let t505 := ((0 : α) * t495)
-  let t508 := ((((1 : α) * t492) + t505) + t504)
-  let t510 := ((0 : α) * t492)
-  let t512 := ((t510 + ((1 : α) * t495)) + t504)
-  let t514 := (t510 + t505)
-  let t515 := (t514 + ((1 : α) * t496))
-  let t535 := ((((t93 * t15) + (t97 * t17)) + (t100 * t19)) + t128)
-  let t541 := ((((t93 * t20) + (t97 * t22)) + (t100 * t24)) + t128)
-  let t548 := ((t514 + t504) * (0 : α))
-  (⟨(atan2 (-((((t508 * t15) + (t512 * t17)) + (t515 * t19)) + t548)) ((((t508 * t20) + (t512 * t22)) + (t515 * t24)) + t548)), (atan2 (-((((t93 * (-t8)) + (t97 * t26)) + (t100 * t27)) + t128)) (sqrt ((t535 * t535) + (t541 * t541)))), t486⟩, (256 : Int))
+  let t531 := ((((t93 * t15) + (t97 * ((t8 * t12) - t11))) + (t100 * ((t8 * t10) + t13))) + t128)
+  let t537 := ((((t93 * t20) + (t97 * ((t8 * t13) + t10))) + (t100 * ((t8 * t11) - t12))) + t128)
+  (⟨(atan2 t20 t15), (atan2 (-((((t93 * (-t8)) + (t97 * t26)) + (t100 * t27)) + t128)) (sqrt ((t531 * t531) + (t537 * t537)))), (atan2 t26 t27)⟩, (256 : Int))
 
 /-- extracted from the C++ template at T = Sym; 1 path(s) -/
 def Euler.toMatrix33_XZY {α : Type} [Add α] [Sub α] [Mul α] [Neg α] [OfNat α 1] (sin : α → α) (cos : α → α) (a : V3 α) : (M33 α) :=
-  let t627 := (a.x * (-(1 : α)))
-  let t628 := (a.y * (-(1 : α)))
-  let t629 := (a.z * (-(1 : α)))
-  let t630 := (cos t627)
-  let t631 := (cos t628)
-  let t632 := (cos t629)
-  let t633 := (sin t627)
-  let t634 := (sin t628)
-  let t635 := (sin t629)
-  let t636 := (t630 * t632)
-  let t637 := (t630 * t635)
-  let t638 := (t633 * t632)
-  let t639 := (t633 * t635)
-  ⟨(t631 * t632), (-t634), (t631 * t635), ((t634 * t636) + t639), (t631 * t630), ((t634 * t637) - t638), ((t634 * t638) - t637), (t631 * t633), ((t634 * t639) + t636)⟩
+  let t622 := (a.x * (-(1 : α)))
+  let t623 := (a.y * (-(1 : α)))
+  let t624 := (a.z * (-(1 : α)))
+  let t625 := (cos t622)
+  let t626 := (cos t623)
+  let t627 := (cos t624)
+  let t628 := (sin t622)
+  let t629 := (sin t623)
+  let t630 := (sin t624)
+  let t631 := (t625 * t627)
+  let t632 := (t625 * t630)
+  let t633 := (t628 * t627)
+  let t634 := (t628 * t630)
+  ⟨(t626 * t627), (-t629), (t626 * t630), ((t629 * t631) + t634), (t626 * t625), ((t629 * t632) - t633), ((t629 * t633) - t632), (t626 * t628), ((t629 * t634) + t631)⟩
 
 /-- extracted from the C++ template at T = Sym; 1 path(s) -/
 def Euler.toMatrix44_XZY {α : Type} [Add α] [Sub α] [Mul α] [Neg α] [OfNat α 0] [OfNat α 1] (sin : α → α) (cos : α → α) (a : V3 α) : (M44 α) :=
-  let t627 := (a.x * (-(1 : α)))
-  let t628 := (a.y * (-(1 : α)))
-  let t629 := (a.z * (-(1 : α)))
-  let t630 := (cos t627)
-  let t631 := (cos t628)
-  let t632 := (cos t629)
-  let t633 := (sin t627)
-  let t634 := (sin t628)
-  let t635 := (sin t629)
-  let t636 := (t630 * t632)
-  let t637 := (t630 * t635)
-  let t638 := (t633 * t632)
-  let t639 := (t633 * t635)
-  ⟨(t631 * t632), (-t634), (t631 * t635), (0 : α), ((t634 * t636) + t639), (t631 * t630), ((t634 * t637) - t638), (0 : α), ((t634 * t638) - t637), (t631 * t633), ((t634 * t639) + t636), (0 : α), (0 : α), (0 : α), (0 : α), (1 : α)⟩
+  let t622 := (a.x * (-(1 : α)))
+  let t623 := (a.y * (-(1 : α)))
+  let t624 := (a.z * (-(1 : α)))
+  let t625 := (cos t622)
+  let t626 := (cos t623)
+  let t627 := (cos t624)
+  let t628 := (sin t622)
+  let t629 := (sin t623)
+  let t630 := (sin t624)
+  let t631 := (t625 * t627)
+  let t632 := (t625 * t630)
+  let t633 := (t628 * t627)
+  let t634 := (t628 * t630)
+  ⟨(t626 * t627), (-t629), (t626 * t630), (0 : α), ((t629 * t631) + t634), (t626 * t625), ((t629 * t632) - t633), (0 : α), ((t629 * t633) - t632), (t626 * t628), ((t629 * t634) + t631), (0 : α), (0 : α), (0 : α), (0 : α), (1 : α)⟩
 
 /-- extracted from the C++ template at T = Sym; 1 path(s) -/
 def Euler.toQuat_XZY {α : Type} [Add α] [Sub α] [Mul α] [Div α] [Neg α] [OfNat α 1] [OfNat α 2] (sin : α → α) (cos : α → α) (a : V3 α) : (Quat α) :=
@@ -426,10 +309,10 @@ def Euler.toQuat_XZY {α : Type} [Add α] [Sub α] [Mul α] [Div α] [Neg α] [O
   let t39 := (t32 * t37)
   let t40 := (t35 * t34)
   let t41 := (t35 * t37)
-  let t654 := ((-a.y) * ((1 : α) / (2 : α)))
-  let t655 := (cos t654)
-  let t656 := (sin t654)
-  ⟨((t655 * t38) + (t656 * t41)), ⟨((t655 * t40) - (t656 * t39)), ((t655 * t39) - (t656 * t40)), (((t655 * t41) + (t656 * t38)) * (-(1 : α)))⟩⟩
+  let t649 := ((-a.y) * ((1 : α) / (2 : α)))
+  let t650 := (cos t649)
+  let t651 := (sin t649)
+  ⟨((t650 * t38) + (t651 * t41)), ⟨((t650 * t40) - (t651 * t39)), ((t650 * t39) - (t651 * t40)), (((t650 * t41) + (t651 * t38)) * (-(1 : α)))⟩⟩
 
 /-- extracted from the C++ template at T = Sym; 1 path(s) -/
 def Euler.extractM33_XZY {α : Type} [Add α] [Mul α] [Neg α] [OfNat α 0] [OfNat α 1] (sqrt : α → α) (sin : α → α) (cos : α → α) (atan2 : α → α → α) (m : M33 α) : (V3 α) :=
@@ -448,21 +331,7 @@ def Euler.extractM33_XZY {α : Type} [Add α] [Mul α] [Neg α] [OfNat α 0] [Of
   let t128 := ((t99 + t89) * (0 : α))
   let t134 := ((((t93 * m.x00) + (t97 * m.x10)) + (t100 * m.x20)) + t128)
   let t146 := ((((t93 * m.x02) + (t97 * m.x12)) + (t100 * m.x22)) + t128)
-  let t670 := (atan2 m.x21 m.x11)
-  let t671 := (cos t670)
-  let t677 := (t66 * t671)
-  let t681 := (-(sin t670))
-  let t683 := ((t72 * t681) + ((t66 * t68) * t671))
-  let t686 := ((t66 * t681) + ((t68 * t68) * t671))
-  let t700 := ((0 : α) * t677)
-  let t701 := ((0 : α) * t686)
-  let t704 := ((((1 : α) * t683) + t701) + t700)
-  let t706 := ((0 : α) * t683)
-  let t708 := ((t706 + ((1 : α) * t686)) + t700)
-  let t710 := (t706 + t701)
-  let t711 := (t710 + ((1 : α) * t677))
-  let t739 := ((t710 + t700) * (0 : α))
-  ⟨(t670 * (-(1 : α))), ((atan2 (-((((t93 * m.x01) + (t97 * m.x11)) + (t100 * m.x21)) + t128)) (sqrt ((t134 * t134) + (t146 * t146)))) * (-(1 : α))), ((atan2 (-((((t704 * m.x00) + (t708 * m.x10)) + (t711 * m.x20)) + t739)) ((((t704 * m.x02) + (t708 * m.x12)) + (t711 * m.x22)) + t739)) * (-(1 : α)))⟩
+  ⟨((atan2 m.x21 m.x11) * (-(1 : α))), ((atan2 (-((((t93 * m.x01) + (t97 * m.x11)) + (t100 * m.x21)) + t128)) (sqrt ((t134 * t134) + (t146 * t146)))) * (-(1 : α))), ((atan2 m.x02 m.x00) * (-(1 : α)))⟩
 
 /-- extracted from the C++ template at T = Sym; 1 path(s) -/
 def Euler.extractM44_XZY {α : Type} [Add α] [Mul α] [Neg α] [OfNat α 0] [OfNat α 1] (sqrt : α → α) (sin : α → α) (cos : α → α) (atan2 : α → α → α) (m : M44 α) : (V3 α) :=
@@ -479,23 +348,9 @@ def Euler.extractM44_XZY {α : Type} [Add α] [Mul α] [Neg α] [OfNat α 0] [Of
   let t99 := (t95 + t90)
   let t100 := (t99 + ((1 : α) * t72))
   let t101 := (t99 + t89)
-  let t246 := ((((t93 * m.x00) + (t97 * m.x10)) + (t100 * m.x20)) + (t101 * m.x30))
-  let t250 := ((((t93 * m.x02) + (t97 * m.x12)) + (t100 * m.x22)) + (t101 * m.x32))
-  let t670 := (atan2 m.x21 m.x11)
-  let t671 := (cos t670)
-  let t677 := (t66 * t671)
-  let t681 := (-(sin t670))
-  let t683 := ((t72 * t681) + ((t66 * t68) * t671))
-  let t686 := ((t66 * t681) + ((t68 * t68) * t671))
-  let t700 := ((0 : α) * t677)
-  let t701 := ((0 : α) * t686)
-  let t704 := ((((1 : α) * t683) + t701) + t700)
-  let t706 := ((0 : α) * t683)
-  let t708 := ((t706 + ((1 : α) * t686)) + t700)
-  let t710 := (t706 + t701)
-  let t711 := (t710 + ((1 : α) * t677))
-  let t712 := (t710 + t700)
-  ⟨(t670 * (-(1 : α))), ((atan2 (-((((t93 * m.x01) + (t97 * m.x11)) + (t100 * m.x21)) + (t101 * m.x31))) (sqrt ((t246 * t246) + (t250 * t250)))) * (-(1 : α))), ((atan2 (-((((t704 * m.x00) + (t708 * m.x10)) + (t711 * m.x20)) + (t712 * m.x30))) ((((t704 * m.x02) + (t708 * m.x12)) + (t711 * m.x22)) + (t712 * m.x32))) * (-(1 : α)))⟩
+  let t245 := ((((t93 * m.x00) + (t97 * m.x10)) + (t100 * m.x20)) + (t101 * m.x30))
+  let t249 := ((((t93 * m.x02) + (t97 * m.x12)) + (t100 * m.x22)) + (t101 * m.x32))
+  ⟨((atan2 m.x21 m.x11) * (-(1 : α))), ((atan2 (-((((t93 * m.x01) + (t97 * m.x11)) + (t100 * m.x21)) + (t101 * m.x31))) (sqrt ((t245 * t245) + (t249 * t249)))) * (-(1 : α))), ((atan2 m.x02 m.x00) * (-(1 : α)))⟩
 
 /-- extracted from the C++ template at T = Sym; 1 path(s) -/
 def Euler.ctorM33_XZY {α : Type} [Add α] [Mul α] [Neg α] [OfNat α 0] [OfNat α 1] (sqrt : α → α) (sin : α → α) (cos : α → α) (atan2 : α → α → α) (m : M33 α) : ((V3 α) × Int) :=
@@ -514,21 +369,7 @@ def Euler.ctorM33_XZY {α : Type} [Add α] [Mul α] [Neg α] [OfNat α 0] [OfNat
   let t128 := ((t99 + t89) * (0 : α))
   let t134 := ((((t93 * m.x00) + (t97 * m.x10)) + (t100 * m.x20)) + t128)
   let t146 := ((((t93 * m.x02) + (t97 * m.x12)) + (t100 * m.x22)) + t128)
-  let t670 := (atan2 m.x21 m.x11)
-  let t671 := (cos t670)
-  let t677 := (t66 * t671)
-  let t681 := (-(sin t670))
-  let t683 := ((t72 * t681) + ((t66 * t68) * t671))
-  let t686 := ((t66 * t681) + ((t68 * t68) * t671))
-  let t700 := ((0 : α) * t677)
-  let t701 := ((0 : α) * t686)
-  let t704 := ((((1 : α) * t683) + t701) + t700)
-  let t706 := ((0 : α) * t683)
-  let t708 := ((t706 + ((1 : α) * t686)) + t700)
-  let t710 := (t706 + t701)
-  let t711 := (t710 + ((1 : α) * t677))
-  let t739 := ((t710 + t700) * (0 : α))
-  (⟨(t670 * (-(1 : α))), ((atan2 (-((((t93 * m.x01) + (t97 * m.x11)) + (t100 * m.x21)) + t128)) (sqrt ((t134 * t134) + (t146 * t146)))) * (-(1 : α))), ((atan2 (-((((t704 * m.x00) + (t708 * m.x10)) + (t711 * m.x20)) + t739)) ((((t704 * m.x02) + (t708 * m.x12)) + (t711 * m.x22)) + t739)) * (-(1 : α)))⟩, (1 : Int))
+  (⟨((atan2 m.x21 m.x11) * (-(1 : α))), ((atan2 (-((((t93 * m.x01) + (t97 * m.x11)) + (t100 * m.x21)) + t128)) (sqrt ((t134 * t134) + (t146 * t146)))) * (-(1 : α))), ((atan2 m.x02 m.x00) * (-(1 : α)))⟩, (1 : Int))
 
 /-- extracted from the C++ template at T = Sym; 1 path(s) -/
 def Euler.ctorM44_XZY {α : Type} [Add α] [Mul α] [Neg α] [OfNat α 0] [OfNat α 1] (sqrt : α → α) (sin : α → α) (cos : α → α) (atan2 : α → α → α) (m : M44 α) : ((V3 α) × Int) :=
@@ -545,23 +386,9 @@ def Euler.ctorM44_XZY {α : Type} [Add α] [Mul α] [Neg α] [OfNat α 0] [OfNat
   let t99 := (t95 + t90)
   let t100 := (t99 + ((1 : α) * t72))
   let t101 := (t99 + t89)
-  let t246 := ((((t93 * m.x00) + (t97 * m.x10)) + (t100 * m.x20)) + (t101 * m.x30))
-  let t250 := ((((t93 * m.x02) + (t97 * m.x12)) + (t100 * m.x22)) + (t101 * m.x32))
-  let t670 := (atan2 m.x21 m.x11)
-  let t671 := (cos t670)
-  let t677 := (t66 * t671)
-  let t681 := (-(sin t670))
-  let t683 := ((t72 * t681) + ((t66 * t68) * t671))
-  let t686 := ((t66 * t681) + ((t68 * t68) * t671))
-  let t700 := ((0 : α) * t677)
-  let t701 := ((0 : α) * t686)
-  let t704 := ((((1 : α) * t683) + t701) + t700)
-  let t706 := ((0 : α) * t683)
-  let t708 := ((t706 + ((1 : α) * t686)) + t700)
-  let t710 := (t706 + t701)
-  let t711 := (t710 + ((1 : α) * t677))
-  let t712 := (t710 + t700)
-  (⟨(t670 * (-(1 : α))), ((atan2 (-((((t93 * m.x01) + (t97 * m.x11)) + (t100 * m.x21)) + (t101 * m.x31))) (sqrt ((t246 * t246) + (t250 * t250)))) * (-(1 : α))), ((atan2 (-((((t704 * m.x00) + (t708 * m.x10)) + (t711 * m.x20)) + (t712 * m.x30))) ((((t704 * m.x02) + (t708 * m.x12)) + (t711 * m.x22)) + (t712 * m.x32))) * (-(1 : α)))⟩, (1 : Int))
+  let t245 := ((((t93 * m.x00) + (t97 * m.x10)) + (t100 * m.x20)) + (t101 * m.x30))
+  let t249 := ((((t93 * m.x02) + (t97 * m.x12)) + (t100 * m.x22)) + (t101 * m.x32))
+  (⟨((atan2 m.x21 m.x11) * (-(1 : α))), ((atan2 (-((((t93 * m.x01) + (t97 * m.x11)) + (t100 * m.x21)) + (t101 * m.x31))) (sqrt ((t245 * t245) + (t249 * t249)))) * (-(1 : α))), ((atan2 m.x02 m.x00) * (-(1 : α)))⟩, (1 : Int))
 
 /-- extracted from the C++ template at T = Sym; 1 path(s) -/
 def Euler.extractQuat_XZY {α : Type} [Add α] [Sub α] [Mul α] [Neg α] [OfNat α 0] [OfNat α 1] [OfNat α 2] (sqrt : α → α) (sin : α → α) (cos : α → α) (atan2 : α → α → α) (q : Quat α) : (V3 α) :=
@@ -578,40 +405,22 @@ def Euler.extractQuat_XZY {α : Type} [Add α] [Sub α] [Mul α] [Neg α] [OfNat
   let t99 := (t95 + t90)
   let t100 := (t99 + ((1 : α) * t72))
   let t128 := ((t99 + t89) * (0 : α))
-  let t309 := (q.v.x * q.v.x)
-  let t310 := (q.v.y * q.v.y)
-  let t314 := ((1 : α) - ((2 : α) * (t310 + t309)))
-  let t315 := (q.v.x * q.r)
-  let t316 := (q.v.y * q.v.z)
-  let t318 := ((2 : α) * (t316 - t315))
-  let t319 := (q.v.y * q.r)
-  let t320 := (q.v.z * q.v.x)
-  let t322 := ((2 : α) * (t320 + t319))
-  let t324 := ((2 : α) * (t316 + t315))
-  let t325 := (q.v.z * q.v.z)
-  let t328 := ((1 : α) - ((2 : α) * (t325 + t309)))
-  let t329 := (q.v.z * q.r)
-  let t330 := (q.v.x * q.v.y)
-  let t332 := ((2 : α) * (t330 - t329))
-  let t334 := ((2 : α) * (t320 - t319))
-  let t339 := ((1 : α) - ((2 : α) * (t310 + t325)))
-  let t389 := ((((t93 * t339) + (t97 * t332)) + (t100 * t322)) + t128)
-  let t401 := ((((t93 * t334) + (t97 * t324)) + (t100 * t314)) + t128)
-  let t810 := (atan2 t318 t328)
-  let t811 := (cos t810)
-  let t817 := (t66 * t811)
-  let t821 := (-(sin t810))
-  let t823 := ((t72 * t821) + ((t66 * t68) * t811))
-  let t826 := ((t66 * t821) + ((t68 * t68) * t811))
-  let t840 := ((0 : α) * t817)
-  let t841 := ((0 : α) * t826)
-  let t844 := ((((1 : α) * t823) + t841) + t840)
-  let t846 := ((0 : α) * t823)
-  let t848 := ((t846 + ((1 : α) * t826)) + t840)
-  let t850 := (t846 + t841)
-  let t851 := (t850 + ((1 : α) * t817))
-  let t879 := ((t850 + t840) * (0 : α))
-  ⟨(t810 * (-(1 : α))), ((atan2 (-((((t93 * ((2 : α) * (t330 + t329))) + (t97 * t328)) + (t100 * t318)) + t128)) (sqrt ((t389 * t389) + (t401 * t401)))) * (-(1 : α))), ((atan2 (-((((t844 * t339) + (t848 * t332)) + (t851 * t322)) + t879)) ((((t844 * t334) + (t848 * t324)) + (t851 * t314)) + t879)) * (-(1 : α)))⟩
+  let t306 := (q.v.x * q.v.x)
+  let t307 := (q.v.y * q.v.y)
+  let t312 := (q.v.x * q.r)
+  let t313 := (q.v.y * q.v.z)
+  let t315 := ((2 : α) * (t313 - t312))
+  let t316 := (q.v.y * q.r)
+  let t317 := (q.v.z * q.v.x)
+  let t322 := (q.v.z * q.v.z)
+  let t325 := ((1 : α) - ((2 : α) * (t322 + t306)))
+  let t326 := (q.v.z * q.r)
+  let t327 := (q.v.x * q.v.y)
+  let t331 := ((2 : α) * (t317 - t316))
+  let t336 := ((1 : α) - ((2 : α) * (t307 + t322)))
+  let t386 := ((((t93 * t336) + (t97 * ((2 : α) * (t327 - t326)))) + (t100 * ((2 : α) * (t317 + t316)))) + t128)
+  let t398 := ((((t93 * t331) + (t97 * ((2 : α) * (t313 + t312)))) + (t100 * ((1 : α) - ((2 : α) * (t307 + t306))))) + t128)
+  ⟨((atan2 t315 t325) * (-(1 : α))), ((atan2 (-((((t93 * ((2 : α) * (t327 + t326))) + (t97 * t325)) + (t100 * t315)) + t128)) (sqrt ((t386 * t386) + (t398 * t398)))) * (-(1 : α))), ((atan2 t331 t336) * (-(1 : α)))⟩
 
 /-- extracted from the C++ template at T = Sym; 1 path(s) -/
 def Euler.ctorXYZLayout_XZY {α : Type} (v : V3 α) : ((V3 α) × Int) :=
@@ -666,13 +475,9 @@ def Euler.reorderFromXYZ_XZY {α : Type} [Add α] [Sub α] [Mul α] [Neg α] [Of
   let t12 := (t7 * t6)
   let t13 := (t7 * t9)
   let t15 := (t5 * t6)
-  let t17 := ((t8 * t12) - t11)
-  let t19 := ((t8 * t10) + t13)
   let t22 := ((t8 * t13) + t10)
   let t24 := ((t8 * t11) - t12)
   let t25 := (-t8)
-  let t26 := (t5 * t7)
-  let t27 := (t5 * t4)
   let t66 := (cos (0 : α))
   let t68 := (sin (0 : α))
   let t70 := (t66 * t66)
@@ -686,23 +491,9 @@ def Euler.reorderFromXYZ_XZY {α : Type} [Add α] [Sub α] [Mul α] [Neg α] [Of
   let t99 := (t95 + t90)
   let t100 := (t99 + ((1 : α) * t72))
   let t128 := ((t99 + t89) * (0 : α))
-  let t535 := ((((t93 * t15) + (t97 * t17)) + (t100 * t19)) + t128)
-  let t547 := ((((t93 * t25) + (t97 * t26)) + (t100 * t27)) + t128)
-  let t915 := (atan2 t24 t22)
-  let t916 := (cos t915)
-  let t922 := (t66 * t916)
-  let t926 := (-(sin t915))
-  let t928 := ((t72 * t926) + ((t66 * t68) * t916))
-  let t931 := ((t66 * t926) + ((t68 * t68) * t916))
-  let t945 := ((0 : α) * t922)
-  let t946 := ((0 : α) * t931)
-  let t949 := ((((1 : α) * t928) + t946) + t945)
-  let t951 := ((0 : α) * t928)
-  let t953 := ((t951 + ((1 : α) * t931)) + t945)
-  let t955 := (t951 + t946)
-  let t956 := (t955 + ((1 : α) * t922))
-  let t984 := ((t955 + t945) * (0 : α))
-  (⟨(t915 * (-(1 : α))), ((atan2 (-((((t93 * (t5 * t9)) + (t97 * t22)) + (t100 * t24)) + t128)) (sqrt ((t535 * t535) + (t547 * t547)))) * (-(1 : α))), ((atan2 (-((((t949 * t15) + (t953 * t17)) + (t956 * t19)) + t984)) ((((t949 * t25) + (t953 * t26)) + (t956 * t27)) + t984)) * (-(1 : α)))⟩, (1 : Int))
+  let t531 := ((((t93 * t15) + (t97 * ((t8 * t12) - t11))) + (t100 * ((t8 * t10) + t13))) + t128)
+  let t543 := ((((t93 * t25) + (t97 * (t5 * t7))) + (t100 * (t5 * t4))) + t128)
+  (⟨((atan2 t24 t22) * (-(1 : α))), ((atan2 (-((((t93 * (t5 * t9)) + (t97 * t22)) + (t100 * t24)) + t128)) (sqrt ((t531 * t531) + (t543 * t543)))) * (-(1 : α))), ((atan2 t25 t15) * (-(1 : α)))⟩, (1 : Int))
 
 /-- extracted from the C++ template at T = Sym; 1 path(s) -/
 def Euler.reorderToZYXr_XZY {α : Type} [Add α] [Sub α] [Mul α] [Neg α] [OfNat α 0] [OfNat α 1] (sqrt : α → α) (sin : α → α) (cos : α → α) (atan2 : α → α → α) (a : V3 α) : ((V3 α) × Int) :=
@@ -719,45 +510,26 @@ def Euler.reorderToZYXr_XZY {α : Type} [Add α] [Sub α] [Mul α] [Neg α] [OfN
   let t99 := (t95 + t90)
   let t100 := (t99 + ((1 : α) * t72))
   let t128 := ((t99 + t89) * (0 : α))
-  let t627 := (a.x * (-(1 : α)))
-  let t628 := (a.y * (-(1 : α)))
-  let t629 := (a.z * (-(1 : α)))
-  let t630 := (cos t627)
-  let t631 := (cos t628)
-  let t632 := (cos t629)
-  let t633 := (sin t627)
-  let t634 := (sin t628)
-  let t635 := (sin t629)
-  let t636 := (t630 * t632)
-  let t637 := (t630 * t635)
-  let t638 := (t633 * t632)
-  let t639 := (t633 * t635)
-  let t640 := (t631 * t632)
-  let t642 := ((t634 * t638) - t637)
-  let t644 := ((t634 * t636) + t639)
-  let t647 := ((t634 * t639) + t636)
-  let t649 := ((t634 * t637) - t638)
-  let t650 := (-t634)
-  let t651 := (t631 * t633)
-  let t652 := (t631 * t630)
-  let t1020 := (atan2 t649 t647)
-  let t1021 := (-t1020)
-  let t1022 := (cos t1021)
-  let t1023 := (sin t1021)
-  let t1026 := ((t72 * t1022) + ((t66 * t68) * t1023))
-  let t1029 := ((t66 * t1022) + ((t68 * t68) * t1023))
-  let t1030 := (t66 * t1023)
-  let t1038 := ((0 : α) * t1030)
-  let t1039 := ((0 : α) * t1029)
-  let t1042 := ((((1 : α) * t1026) + t1039) + t1038)
-  let t1044 := ((0 : α) * t1026)
-  let t1046 := ((t1044 + ((1 : α) * t1029)) + t1038)
-  let t1048 := (t1044 + t1039)
-  let t1049 := (t1048 + ((1 : α) * t1030))
-  let t1069 := ((((t93 * t640) + (t97 * t644)) + (t100 * t642)) + t128)
-  let t1075 := ((((t93 * t650) + (t97 * t652)) + (t100 * t651)) + t128)
-  let t1082 := ((t1048 + t1038) * (0 : α))
-  (⟨(atan2 (-((((t1042 * t640) + (t1046 * t644)) + (t1049 * t642)) + t1082)) ((((t1042 * t650) + (t1046 * t652)) + (t1049 * t651)) + t1082)), (atan2 (-((((t93 * (t631 * t635)) + (t97 * t649)) + (t100 * t647)) + t128)) (sqrt ((t1069 * t1069) + (t1075 * t1075)))), t1020⟩, (256 : Int))
+  let t622 := (a.x * (-(1 : α)))
+  let t623 := (a.y * (-(1 : α)))
+  let t624 := (a.z * (-(1 : α)))
+  let t625 := (cos t622)
+  let t626 := (cos t623)
+  let t627 := (cos t624)
+  let t628 := (sin t622)
+  let t629 := (sin t623)
+  let t630 := (sin t624)
+  let t631 := (t625 * t627)
+  let t632 := (t625 * t630)
+  let t633 := (t628 * t627)
+  let t634 := (t628 * t630)
+  let t635 := (t626 * t627)
+  let t642 := ((t629 * t634) + t631)
+  let t644 := ((t629 * t632) - t633)
+  let t645 := (-t629)
+  let t1058 := ((((t93 * t635) + (t97 * ((t629 * t631) + t634))) + (t100 * ((t629 * t633) - t632))) + t128)
+  let t1064 := ((((t93 * t645) + (t97 * (t626 * t625))) + (t100 * (t626 * t628))) + t128)
+  (⟨(atan2 t645 t635), (atan2 (-((((t93 * (t626 * t630)) + (t97 * t644)) + (t100 * t642)) + t128)) (sqrt ((t1058 * t1058) + (t1064 * t1064)))), (atan2 t644 t642)⟩, (256 : Int))
 
 /-- extracted from the C++ template at T = Sym; 1 path(s) -/
 def Euler.toMatrix33_YZX {α : Type} [Add α] [Sub α] [Mul α] [Neg α] (sin : α → α) (cos : α → α) (a : V3 α) : (M33 α) :=
@@ -808,203 +580,124 @@ def Euler.toQuat_YZX {α : Type} [Add α] [Sub α] [Mul α] [Div α] [OfNat α 1
 def Euler.extractM33_YZX {α : Type} [Add α] [Mul α] [Neg α] [OfNat α 0] [OfNat α 1] (sqrt : α → α) (sin : α → α) (cos : α → α) (atan2 : α → α → α) (m : M33 α) : (V3 α) :=
   let t66 := (cos (0 : α))
   let t68 := (sin (0 : α))
-  let t72 := (-t68)
-  let t1160 := (atan2 m.x20 m.x00)
-  let t1161 := (-t1160)
-  let t1162 := (cos t1161)
-  let t1163 := (sin t1161)
-  let t1167 := (t66 * t1163)
-  let t1170 := ((t72 * t66) + (t1167 * t68))
-  let t1171 := (t68 * t1163)
-  let t1173 := ((t66 * t66) + (t1171 * t68))
-  let t1174 := (t1162 * t68)
-  let t1177 := ((t72 * t72) + (t1167 * t66))
-  let t1180 := ((t66 * t72) + (t1171 * t66))
-  let t1181 := (t1162 * t66)
-  let t1195 := ((0 : α) * t1174)
-  let t1196 := ((0 : α) * t1173)
-  let t1199 := ((((1 : α) * t1170) + t1196) + t1195)
-  let t1201 := ((0 : α) * t1170)
-  let t1203 := ((t1201 + ((1 : α) * t1173)) + t1195)
-  let t1205 := (t1201 + t1196)
-  let t1206 := (t1205 + ((1 : α) * t1174))
-  let t1208 := ((0 : α) * t1181)
-  let t1209 := ((0 : α) * t1180)
-  let t1212 := ((((1 : α) * t1177) + t1209) + t1208)
-  let t1214 := ((0 : α) * t1177)
-  let t1216 := ((t1214 + ((1 : α) * t1180)) + t1208)
-  let t1218 := (t1214 + t1209)
-  let t1219 := (t1218 + ((1 : α) * t1181))
-  let t1247 := ((t1205 + t1195) * (0 : α))
-  let t1259 := ((((t1199 * m.x01) + (t1203 * m.x11)) + (t1206 * m.x21)) + t1247)
-  let t1265 := ((((t1199 * m.x02) + (t1203 * m.x12)) + (t1206 * m.x22)) + t1247)
-  let t1273 := ((t1218 + t1208) * (0 : α))
-  ⟨t1160, (atan2 (-((((t1199 * m.x00) + (t1203 * m.x10)) + (t1206 * m.x20)) + t1247)) (sqrt ((t1259 * t1259) + (t1265 * t1265)))), (atan2 (-((((t1212 * m.x01) + (t1216 * m.x11)) + (t1219 * m.x21)) + t1273)) ((((t1212 * m.x02) + (t1216 * m.x12)) + (t1219 * m.x22)) + t1273))⟩
+  let t1148 := (atan2 m.x20 m.x00)
+  let t1149 := (-t1148)
+  let t1151 := (sin t1149)
+  let t1158 := (((-t68) * t66) + ((t66 * t1151) * t68))
+  let t1161 := ((t66 * t66) + ((t68 * t1151) * t68))
+  let t1162 := ((cos t1149) * t68)
+  let t1183 := ((0 : α) * t1162)
+  let t1184 := ((0 : α) * t1161)
+  let t1187 := ((((1 : α) * t1158) + t1184) + t1183)
+  let t1189 := ((0 : α) * t1158)
+  let t1191 := ((t1189 + ((1 : α) * t1161)) + t1183)
+  let t1193 := (t1189 + t1184)
+  let t1194 := (t1193 + ((1 : α) * t1162))
+  let t1235 := ((t1193 + t1183) * (0 : α))
+  let t1247 := ((((t1187 * m.x01) + (t1191 * m.x11)) + (t1194 * m.x21)) + t1235)
+  let t1253 := ((((t1187 * m.x02) + (t1191 * m.x12)) + (t1194 * m.x22)) + t1235)
+  ⟨t1148, (atan2 (-((((t1187 * m.x00) + (t1191 * m.x10)) + (t1194 * m.x20)) + t1235)) (sqrt ((t1247 * t1247) + (t1253 * t1253)))), (atan2 m.x12 m.x11)⟩
 
 /-- extracted from the C++ template at T = Sym; 1 path(s) -/
 def Euler.extractM44_YZX {α : Type} [Add α] [Mul α] [Neg α] [OfNat α 0] [OfNat α 1] (sqrt : α → α) (sin : α → α) (cos : α → α) (atan2 : α → α → α) (m : M44 α) : (V3 α) :=
   let t66 := (cos (0 : α))
   let t68 := (sin (0 : α))
-  let t72 := (-t68)
-  let t1160 := (atan2 m.x20 m.x00)
-  let t1161 := (-t1160)
-  let t1162 := (cos t1161)
-  let t1163 := (sin t1161)
-  let t1167 := (t66 * t1163)
-  let t1170 := ((t72 * t66) + (t1167 * t68))
-  let t1171 := (t68 * t1163)
-  let t1173 := ((t66 * t66) + (t1171 * t68))
-  let t1174 := (t1162 * t68)
-  let t1177 := ((t72 * t72) + (t1167 * t66))
-  let t1180 := ((t66 * t72) + (t1171 * t66))
-  let t1181 := (t1162 * t66)
-  let t1195 := ((0 : α) * t1174)
-  let t1196 := ((0 : α) * t1173)
-  let t1199 := ((((1 : α) * t1170) + t1196) + t1195)
-  let t1201 := ((0 : α) * t1170)
-  let t1203 := ((t1201 + ((1 : α) * t1173)) + t1195)
-  let t1205 := (t1201 + t1196)
-  let t1206 := (t1205 + ((1 : α) * t1174))
-  let t1207 := (t1205 + t1195)
-  let t1208 := ((0 : α) * t1181)
-  let t1209 := ((0 : α) * t1180)
-  let t1212 := ((((1 : α) * t1177) + t1209) + t1208)
-  let t1214 := ((0 : α) * t1177)
-  let t1216 := ((t1214 + ((1 : α) * t1180)) + t1208)
-  let t1218 := (t1214 + t1209)
-  let t1219 := (t1218 + ((1 : α) * t1181))
-  let t1220 := (t1218 + t1208)
-  let t1323 := ((((t1199 * m.x01) + (t1203 * m.x11)) + (t1206 * m.x21)) + (t1207 * m.x31))
-  let t1325 := ((((t1199 * m.x02) + (t1203 * m.x12)) + (t1206 * m.x22)) + (t1207 * m.x32))
-  ⟨t1160, (atan2 (-((((t1199 * m.x00) + (t1203 * m.x10)) + (t1206 * m.x20)) + (t1207 * m.x30))) (sqrt ((t1323 * t1323) + (t1325 * t1325)))), (atan2 (-((((t1212 * m.x01) + (t1216 * m.x11)) + (t1219 * m.x21)) + (t1220 * m.x31))) ((((t1212 * m.x02) + (t1216 * m.x12)) + (t1219 * m.x22)) + (t1220 * m.x32)))⟩
+  let t1148 := (atan2 m.x20 m.x00)
+  let t1149 := (-t1148)
+  let t1151 := (sin t1149)
+  let t1158 := (((-t68) * t66) + ((t66 * t1151) * t68))
+  let t1161 := ((t66 * t66) + ((t68 * t1151) * t68))
+  let t1162 := ((cos t1149) * t68)
+  let t1183 := ((0 : α) * t1162)
+  let t1184 := ((0 : α) * t1161)
+  let t1187 := ((((1 : α) * t1158) + t1184) + t1183)
+  let t1189 := ((0 : α) * t1158)
+  let t1191 := ((t1189 + ((1 : α) * t1161)) + t1183)
+  let t1193 := (t1189 + t1184)
+  let t1194 := (t1193 + ((1 : α) * t1162))
+  let t1195 := (t1193 + t1183)
+  let t1310 := ((((t1187 * m.x01) + (t1191 * m.x11)) + (t1194 * m.x21)) + (t1195 * m.x31))
+  let t1312 := ((((t1187 * m.x02) + (t1191 * m.x12)) + (t1194 * m.x22)) + (t1195 * m.x32))
+  ⟨t1148, (atan2 (-((((t1187 * m.x00) + (t1191 * m.x10)) + (t1194 * m.x20)) + (t1195 * m.x30))) (sqrt ((t1310 * t1310) + (t1312 * t1312)))), (atan2 m.x12 m.x11)⟩
 
 /-- extracted from the C++ template at T = Sym; 1 path(s) -/
 def Euler.ctorM33_YZX {α : Type} [Add α] [Mul α] [Neg α] [OfNat α 0] [OfNat α 1] (sqrt : α → α) (sin : α → α) (cos : α → α) (atan2 : α → α → α) (m : M33 α) : ((V3 α) × Int) :=
   let t66 := (cos (0 : α))
   let t68 := (sin (0 : α))
-  let t72 := (-t68)
-  let t1160 := (atan2 m.x20 m.x00)
-  let t1161 := (-t1160)
-  let t1162 := (cos t1161)
-  let t1163 := (sin t1161)
-  let t1167 := (t66 * t1163)
-  let t1170 := ((t72 * t66) + (t1167 * t68))
-  let t1171 := (t68 * t1163)
-  let t1173 := ((t66 * t66) + (t1171 * t68))
-  let t1174 := (t1162 * t68)
-  let t1177 := ((t72 * t72) + (t1167 * t66))
-  let t1180 := ((t66 * t72) + (t1171 * t66))
-  let t1181 := (t1162 * t66)
-  let t1195 := ((0 : α) * t1174)
-  let t1196 := ((0 : α) * t1173)
-  let t1199 := ((((1 : α) * t1170) + t1196) + t1195)
-  let t1201 := ((0 : α) * t1170)
-  let t1203 := ((t1201 + ((1 : α) * t1173)) + t1195)
-  let t1205 := (t1201 + t1196)
-  let t1206 := (t1205 + ((1 : α) * t1174))
-  let t1208 := ((0 : α) * t1181)
-  let t1209 := ((0 : α) * t1180)
-  let t1212 := ((((1 : α) * t1177) + t1209) + t1208)
-  let t1214 := ((0 : α) * t1177)
-  let t1216 := ((t1214 + ((1 : α) * t1180)) + t1208)
-  let t1218 := (t1214 + t1209)
-  let t1219 := (t1218 + ((1 : α) * t1181))
-  let t1247 := ((t1205 + t1195) * (0 : α))
-  let t1259 := ((((t1199 * m.x01) + (t1203 * m.x11)) + (t1206 * m.x21)) + t1247)
-  let t1265 := ((((t1199 * m.x02) + (t1203 * m.x12)) + (t1206 * m.x22)) + t1247)
-  let t1273 := ((t1218 + t1208) * (0 : α))
-  (⟨t1160, (atan2 (-((((t1199 * m.x00) + (t1203 * m.x10)) + (t1206 * m.x20)) + t1247)) (sqrt ((t1259 * t1259) + (t1265 * t1265)))), (atan2 (-((((t1212 * m.x01) + (t1216 * m.x11)) + (t1219 * m.x21)) + t1273)) ((((t1212 * m.x02) + (t1216 * m.x12)) + (t1219 * m.x22)) + t1273))⟩, (4353 : Int))
+  let t1148 := (atan2 m.x20 m.x00)
+  let t1149 := (-t1148)
+  let t1151 := (sin t1149)
+  let t1158 := (((-t68) * t66) + ((t66 * t1151) * t68))
+  let t1161 := ((t66 * t66) + ((t68 * t1151) * t68))
+  let t1162 := ((cos t1149) * t68)
+  let t1183 := ((0 : α) * t1162)
+  let t1184 := ((0 : α) * t1161)
+  let t1187 := ((((1 : α) * t1158) + t1184) + t1183)
+  let t1189 := ((0 : α) * t1158)
+  let t1191 := ((t1189 + ((1 : α) * t1161)) + t1183)
+  let t1193 := (t1189 + t1184)
+  let t1194 := (t1193 + ((1 : α) * t1162))
+  let t1235 := ((t1193 + t1183) * (0 : α))
+  let t1247 := ((((t1187 * m.x01) + (t1191 * m.x11)) + (t1194 * m.x21)) + t1235)
+  let t1253 := ((((t1187 * m.x02) + (t1191 * m.x12)) + (t1194 * m.x22)) + t1235)
+  (⟨t1148, (atan2 (-((((t1187 * m.x00) + (t1191 * m.x10)) + (t1194 * m.x20)) + t1235)) (sqrt ((t1247 * t1247) + (t1253 * t1253)))), (atan2 m.x12 m.x11)⟩, (4353 : Int))
 
 /-- extracted from the C++ template at T = Sym; 1 path(s) -/
 def Euler.ctorM44_YZX {α : Type} [Add α] [Mul α] [Neg α] [OfNat α 0] [OfNat α 1] (sqrt : α → α) (sin : α → α) (cos : α → α) (atan2 : α → α → α) (m : M44 α) : ((V3 α) × Int) :=
   let t66 := (cos (0 : α))
   let t68 := (sin (0 : α))
-  let t72 := (-t68)
-  let t1160 := (atan2 m.x20 m.x00)
-  let t1161 := (-t1160)
-  let t1162 := (cos t1161)
-  let t1163 := (sin t1161)
-  let t1167 := (t66 * t1163)
-  let t1170 := ((t72 * t66) + (t1167 * t68))
-  let t1171 := (t68 * t1163)
-  let t1173 := ((t66 * t66) + (t1171 * t68))
-  let t1174 := (t1162 * t68)
-  let t1177 := ((t72 * t72) + (t1167 * t66))
-  let t1180 := ((t66 * t72) + (t1171 * t66))
-  let t1181 := (t1162 * t66)
-  let t1195 := ((0 : α) * t1174)
-  let t1196 := ((0 : α) * t1173)
-  let t1199 := ((((1 : α) * t1170) + t1196) + t1195)
-  let t1201 := ((0 : α) * t1170)
-  let t1203 := ((t1201 + ((1 : α) * t1173)) + t1195)
-  let t1205 := (t1201 + t1196)
-  let t1206 := (t1205 + ((1 : α) * t1174))
-  let t1207 := (t1205 + t1195)
-  let t1208 := ((0 : α) * t1181)
-  let t1209 := ((0 : α) * t1180)
-  let t1212 := ((((1 : α) * t1177) + t1209) + t1208)
-  let t1214 := ((0 : α) * t1177)
-  let t1216 := ((t1214 + ((1 : α) * t1180)) + t1208)
-  let t1218 := (t1214 + t1209)
-  let t1219 := (t1218 + ((1 : α) * t1181))
-  let t1220 := (t1218 + t1208)
-  let t1323 := ((((t1199 * m.x01) + (t1203 * m.x11)) + (t1206 * m.x21)) + (t1207 * m.x31))
-  let t1325 := ((((t1199 * m.x02) + (t1203 * m.x12)) + (t1206 * m.x22)) + (t1207 * m.x32))
-  (⟨t1160, (atan2 (-((((t1199 * m.x00) + (t1203 * m.x10)) + (t1206 * m.x20)) + (t1207 * m.x30))) (sqrt ((t1323 * t1323) + (t1325 * t1325)))), (atan2 (-((((t1212 * m.x01) + (t1216 * m.x11)) + (t1219 * m.x21)) + (t1220 * m.x31))) ((((t1212 * m.x02) + (t1216 * m.x12)) + (t1219 * m.x22)) + (t1220 * m.x32)))⟩, (4353 : Int))
+  let t1148 := (atan2 m.x20 m.x00)
+  let t1149 := (-t1148)
+  let t1151 := (sin t1149)
+  let t1158 := (((-t68) * t66) + ((t66 * t1151) * t68))
+  let t1161 := ((t66 * t66) + ((t68 * t1151) * t68))
+  let t1162 := ((cos t1149) * t68)
+  let t1183 := ((0 : α) * t1162)
+  let t1184 := ((0 : α) * t1161)
+  let t1187 := ((((1 : α) * t1158) + t1184) + t1183)
+  let t1189 := ((0 : α) * t1158)
+  let t1191 := ((t1189 + ((1 : α) * t1161)) + t1183)
+  let t1193 := (t1189 + t1184)
+  let t1194 := (t1193 + ((1 : α) * t1162))
+  let t1195 := (t1193 + t1183)
+  let t1310 := ((((t1187 * m.x01) + (t1191 * m.x11)) + (t1194 * m.x21)) + (t1195 * m.x31))
+  let t1312 := ((((t1187 * m.x02) + (t1191 * m.x12)) + (t1194 * m.x22)) + (t1195 * m.x32))
+  (⟨t1148, (atan2 (-((((t1187 * m.x00) + (t1191 * m.x10)) + (t1194 * m.x20)) + (t1195 * m.x30))) (sqrt ((t1310 * t1310) + (t1312 * t1312)))), (atan2 m.x12 m.x11)⟩, (4353 : Int))
 
 /-- extracted from the C++ template at T = Sym; 1 path(s) -/
 def Euler.extractQuat_YZX {α : Type} [Add α] [Sub α] [Mul α] [Neg α] [OfNat α 0] [OfNat α 1] [OfNat α 2] (sqrt : α → α) (sin : α → α) (cos : α → α) (atan2 : α → α → α) (q : Quat α) : (V3 α) :=
   let t66 := (cos (0 : α))
   let t68 := (sin (0 : α))
-  let t72 := (-t68)
-  let t309 := (q.v.x * q.v.x)
-  let t310 := (q.v.y * q.v.y)
-  let t314 := ((1 : α) - ((2 : α) * (t310 + t309)))
-  let t315 := (q.v.x * q.r)
-  let t316 := (q.v.y * q.v.z)
-  let t318 := ((2 : α) * (t316 - t315))
-  let t319 := (q.v.y * q.r)
-  let t320 := (q.v.z * q.v.x)
-  let t322 := ((2 : α) * (t320 + t319))
-  let t324 := ((2 : α) * (t316 + t315))
-  let t325 := (q.v.z * q.v.z)
-  let t328 := ((1 : α) - ((2 : α) * (t325 + t309)))
-  let t329 := (q.v.z * q.r)
-  let t330 := (q.v.x * q.v.y)
-  let t334 := ((2 : α) * (t320 - t319))
-  let t336 := ((2 : α) * (t330 + t329))
-  let t339 := ((1 : α) - ((2 : α) * (t310 + t325)))
-  let t1354 := (atan2 t322 t339)
-  let t1355 := (-t1354)
-  let t1356 := (cos t1355)
-  let t1357 := (sin t1355)
-  let t1361 := (t66 * t1357)
-  let t1363 := ((t72 * t66) + (t1361 * t68))
-  let t1364 := (t68 * t1357)
-  let t1366 := ((t66 * t66) + (t1364 * t68))
-  let t1367 := (t1356 * t68)
-  let t1369 := ((t72 * t72) + (t1361 * t66))
-  let t1371 := ((t66 * t72) + (t1364 * t66))
-  let t1372 := (t1356 * t66)
-  let t1386 := ((0 : α) * t1367)
-  let t1387 := ((0 : α) * t1366)
-  let t1390 := ((((1 : α) * t1363) + t1387) + t1386)
-  let t1392 := ((0 : α) * t1363)
-  let t1394 := ((t1392 + ((1 : α) * t1366)) + t1386)
-  let t1396 := (t1392 + t1387)
-  let t1397 := (t1396 + ((1 : α) * t1367))
-  let t1399 := ((0 : α) * t1372)
-  let t1400 := ((0 : α) * t1371)
-  let t1403 := ((((1 : α) * t1369) + t1400) + t1399)
-  let t1405 := ((0 : α) * t1369)
-  let t1407 := ((t1405 + ((1 : α) * t1371)) + t1399)
-  let t1409 := (t1405 + t1400)
-  let t1410 := (t1409 + ((1 : α) * t1372))
-  let t1438 := ((t1396 + t1386) * (0 : α))
-  let t1450 := ((((t1390 * t336) + (t1394 * t328)) + (t1397 * t318)) + t1438)
-  let t1456 := ((((t1390 * t334) + (t1394 * t324)) + (t1397 * t314)) + t1438)
-  let t1464 := ((t1409 + t1399) * (0 : α))
-  ⟨t1354, (atan2 (-((((t1390 * t339) + (t1394 * ((2 : α) * (t330 - t329)))) + (t1397 * t322)) + t1438)) (sqrt ((t1450 * t1450) + (t1456 * t1456)))), (atan2 (-((((t1403 * t336) + (t1407 * t328)) + (t1410 * t318)) + t1464)) ((((t1403 * t334) + (t1407 * t324)) + (t1410 * t314)) + t1464))⟩
+  let t306 := (q.v.x * q.v.x)
+  let t307 := (q.v.y * q.v.y)
+  let t312 := (q.v.x * q.r)
+  let t313 := (q.v.y * q.v.z)
+  let t316 := (q.v.y * q.r)
+  let t317 := (q.v.z * q.v.x)
+  let t319 := ((2 : α) * (t317 + t316))
+  let t321 := ((2 : α) * (t313 + t312))
+  let t322 := (q.v.z * q.v.z)
+  let t325 := ((1 : α) - ((2 : α) * (t322 + t306)))
+  let t326 := (q.v.z * q.r)
+  let t327 := (q.v.x * q.v.y)
+  let t336 := ((1 : α) - ((2 : α) * (t307 + t322)))
+  let t1339 := (atan2 t319 t336)
+  let t1340 := (-t1339)
+  let t1342 := (sin t1340)
+  let t1348 := (((-t68) * t66) + ((t66 * t1342) * t68))
+  let t1351 := ((t66 * t66) + ((t68 * t1342) * t68))
+  let t1352 := ((cos t1340) * t68)
+  let t1371 := ((0 : α) * t1352)
+  let t1372 := ((0 : α) * t1351)
+  let t1375 := ((((1 : α) * t1348) + t1372) + t1371)
+  let t1377 := ((0 : α) * t1348)
+  let t1379 := ((t1377 + ((1 : α) * t1351)) + t1371)
+  let t1381 := (t1377 + t1372)
+  let t1382 := (t1381 + ((1 : α) * t1352))
+  let t1423 := ((t1381 + t1371) * (0 : α))
+  let t1435 := ((((t1375 * ((2 : α) * (t327 + t326))) + (t1379 * t325)) + (t1382 * ((2 : α) * (t313 - t312)))) + t1423)
+  let t1441 := ((((t1375 * ((2 : α) * (t317 - t316))) + (t1379 * t321)) + (t1382 * ((1 : α) - ((2 : α) * (t307 + t306))))) + t1423)
+  ⟨t1339, (atan2 (-((((t1375 * t336) + (t1379 * ((2 : α) * (t327 - t326)))) + (t1382 * t319)) + t1423)) (sqrt ((t1435 * t1435) + (t1441 * t1441)))), (atan2 t321 t325)⟩
 
 /-- extracted from the C++ template at T = Sym; 1 path(s) -/
 def Euler.ctorXYZLayout_YZX {α : Type} (v : V3 α) : ((V3 α) × Int) :=
@@ -1060,46 +753,27 @@ def Euler.reorderFromXYZ_YZX {α : Type} [Add α] [Sub α] [Mul α] [Neg α] [Of
   let t13 := (t7 * t9)
   let t15 := (t5 * t6)
   let t19 := ((t8 * t10) + t13)
-  let t20 := (t5 * t9)
   let t22 := ((t8 * t13) + t10)
-  let t24 := ((t8 * t11) - t12)
-  let t25 := (-t8)
   let t26 := (t5 * t7)
-  let t27 := (t5 * t4)
   let t66 := (cos (0 : α))
   let t68 := (sin (0 : α))
-  let t72 := (-t68)
-  let t1498 := (atan2 t19 t15)
-  let t1499 := (-t1498)
-  let t1500 := (cos t1499)
-  let t1501 := (sin t1499)
-  let t1505 := (t66 * t1501)
-  let t1507 := ((t72 * t66) + (t1505 * t68))
-  let t1508 := (t68 * t1501)
-  let t1510 := ((t66 * t66) + (t1508 * t68))
-  let t1511 := (t1500 * t68)
-  let t1513 := ((t72 * t72) + (t1505 * t66))
-  let t1515 := ((t66 * t72) + (t1508 * t66))
-  let t1516 := (t1500 * t66)
-  let t1530 := ((0 : α) * t1511)
-  let t1531 := ((0 : α) * t1510)
-  let t1534 := ((((1 : α) * t1507) + t1531) + t1530)
-  let t1536 := ((0 : α) * t1507)
-  let t1538 := ((t1536 + ((1 : α) * t1510)) + t1530)
-  let t1540 := (t1536 + t1531)
-  let t1541 := (t1540 + ((1 : α) * t1511))
-  let t1543 := ((0 : α) * t1516)
-  let t1544 := ((0 : α) * t1515)
-  let t1547 := ((((1 : α) * t1513) + t1544) + t1543)
-  let t1549 := ((0 : α) * t1513)
-  let t1551 := ((t1549 + ((1 : α) * t1515)) + t1543)
-  let t1553 := (t1549 + t1544)
-  let t1554 := (t1553 + ((1 : α) * t1516))
-  let t1582 := ((t1540 + t1530) * (0 : α))
-  let t1594 := ((((t1534 * t20) + (t1538 * t22)) + (t1541 * t24)) + t1582)
-  let t1600 := ((((t1534 * t25) + (t1538 * t26)) + (t1541 * t27)) + t1582)
-  let t1608 := ((t1553 + t1543) * (0 : α))
-  (⟨t1498, (atan2 (-((((t1534 * t15) + (t1538 * ((t8 * t12) - t11))) + (t1541 * t19)) + t1582)) (sqrt ((t1594 * t1594) + (t1600 * t1600)))), (atan2 (-((((t1547 * t20) + (t1551 * t22)) + (t1554 * t24)) + t1608)) ((((t1547 * t25) + (t1551 * t26)) + (t1554 * t27)) + t1608))⟩, (4353 : Int))
+  let t1482 := (atan2 t19 t15)
+  let t1483 := (-t1482)
+  let t1485 := (sin t1483)
+  let t1491 := (((-t68) * t66) + ((t66 * t1485) * t68))
+  let t1494 := ((t66 * t66) + ((t68 * t1485) * t68))
+  let t1495 := ((cos t1483) * t68)
+  let t1514 := ((0 : α) * t1495)
+  let t1515 := ((0 : α) * t1494)
+  let t1518 := ((((1 : α) * t1491) + t1515) + t1514)
+  let t1520 := ((0 : α) * t1491)
+  let t1522 := ((t1520 + ((1 : α) * t1494)) + t1514)
+  let t1524 := (t1520 + t1515)
+  let t1525 := (t1524 + ((1 : α) * t1495))
+  let t1566 := ((t1524 + t1514) * (0 : α))
+  let t1578 := ((((t1518 * (t5 * t9)) + (t1522 * t22)) + (t1525 * ((t8 * t11) - t12))) + t1566)
+  let t1584 := ((((t1518 * (-t8)) + (t1522 * t26)) + (t1525 * (t5 * t4))) + t1566)
+  (⟨t1482, (atan2 (-((((t1518 * t15) + (t1522 * ((t8 * t12) - t11))) + (t1525 * t19)) + t1566)) (sqrt ((t1578 * t1578) + (t1584 * t1584)))), (atan2 t26 t22)⟩, (4353 : Int))
 
 /-- extracted from the C++ template at T = Sym; 1 path(s) -/
 def Euler.reorderToZYXr_YZX {α : Type} [Add α] [Sub α] [Mul α] [Neg α] [OfNat α 0] [OfNat α 1] (sqrt : α → α) (sin : α → α) (cos : α → α) (atan2 : α → α → α) (a : V3 α) : ((V3 α) × Int) :=
@@ -1113,13 +787,9 @@ def Euler.reorderToZYXr_YZX {α : Type} [Add α] [Sub α] [Mul α] [Neg α] [OfN
   let t11 := (t4 * t9)
   let t12 := (t7 * t6)
   let t13 := (t7 * t9)
-  let t15 := (t5 * t6)
-  let t17 := ((t8 * t12) - t11)
   let t19 := ((t8 * t10) + t13)
   let t20 := (t5 * t9)
   let t22 := ((t8 * t13) + t10)
-  let t25 := (-t8)
-  let t26 := (t5 * t7)
   let t27 := (t5 * t4)
   let t66 := (cos (0 : α))
   let t68 := (sin (0 : α))
@@ -1134,58 +804,43 @@ def Euler.reorderToZYXr_YZX {α : Type} [Add α] [Sub α] [Mul α] [Neg α] [OfN
   let t99 := (t95 + t90)
   let t100 := (t99 + ((1 : α) * t72))
   let t128 := ((t99 + t89) * (0 : α))
-  let t1642 := (atan2 t20 t22)
-  let t1643 := (-t1642)
-  let t1644 := (cos t1643)
-  let t1645 := (sin t1643)
-  let t1648 := ((t72 * t1644) + ((t66 * t68) * t1645))
-  let t1651 := ((t66 * t1644) + ((t68 * t68) * t1645))
-  let t1652 := (t66 * t1645)
-  let t1660 := ((0 : α) * t1652)
-  let t1661 := ((0 : α) * t1651)
-  let t1664 := ((((1 : α) * t1648) + t1661) + t1660)
-  let t1666 := ((0 : α) * t1648)
-  let t1668 := ((t1666 + ((1 : α) * t1651)) + t1660)
-  let t1670 := (t1666 + t1661)
-  let t1671 := (t1670 + ((1 : α) * t1652))
-  let t1691 := ((((t93 * t27) + (t97 * t25)) + (t100 * t26)) + t128)
-  let t1697 := ((((t93 * t19) + (t97 * t15)) + (t100 * t17)) + t128)
-  let t1704 := ((t1670 + t1660) * (0 : α))
-  (⟨(atan2 (-((((t1664 * t27) + (t1668 * t25)) + (t1671 * t26)) + t1704)) ((((t1664 * t19) + (t1668 * t15)) + (t1671 * t17)) + t1704)), (atan2 (-((((t93 * ((t8 * t11) - t12)) + (t97 * t20)) + (t100 * t22)) + t128)) (sqrt ((t1691 * t1691) + (t1697 * t1697)))), t1642⟩, (256 : Int))
+  let t1674 := ((((t93 * t27) + (t97 * (-t8))) + (t100 * (t5 * t7))) + t128)
+  let t1680 := ((((t93 * t19) + (t97 * (t5 * t6))) + (t100 * ((t8 * t12) - t11))) + t128)
+  (⟨(atan2 t19 t27), (atan2 (-((((t93 * ((t8 * t11) - t12)) + (t97 * t20)) + (t100 * t22)) + t128)) (sqrt ((t1674 * t1674) + (t1680 * t1680)))), (atan2 t20 t22)⟩, (256 : Int))
 
 /-- extracted from the C++ template at T = Sym; 1 path(s) -/
 def Euler.toMatrix33_YXZ {α : Type} [Add α] [Sub α] [Mul α] [Neg α] [OfNat α 1] (sin : α → α) (cos : α → α) (a : V3 α) : (M33 α) :=
-  let t627 := (a.x * (-(1 : α)))
-  let t628 := (a.y * (-(1 : α)))
-  let t629 := (a.z * (-(1 : α)))
-  let t630 := (cos t627)
-  let t631 := (cos t628)
-  let t632 := (cos t629)
-  let t633 := (sin t627)
-  let t634 := (sin t628)
-  let t635 := (sin t629)
-  let t636 := (t630 * t632)
-  let t637 := (t630 * t635)
-  let t638 := (t633 * t632)
-  let t639 := (t633 * t635)
-  ⟨((t634 * t639) + t636), ((t634 * t638) - t637), (t631 * t633), (t631 * t635), (t631 * t632), (-t634), ((t634 * t637) - t638), ((t634 * t636) + t639), (t631 * t630)⟩
+  let t622 := (a.x * (-(1 : α)))
+  let t623 := (a.y * (-(1 : α)))
+  let t624 := (a.z * (-(1 : α)))
+  let t625 := (cos t622)
+  let t626 := (cos t623)
+  let t627 := (cos t624)
+  let t628 := (sin t622)
+  let t629 := (sin t623)
+  let t630 := (sin t624)
+  let t631 := (t625 * t627)
+  let t632 := (t625 * t630)
+  let t633 := (t628 * t627)
+  let t634 := (t628 * t630)
+  ⟨((t629 * t634) + t631), ((t629 * t633) - t632), (t626 * t628), (t626 * t630), (t626 * t627), (-t629), ((t629 * t632) - t633), ((t629 * t631) + t634), (t626 * t625)⟩
 
 /-- extracted from the C++ template at T = Sym; 1 path(s) -/
 def Euler.toMatrix44_YXZ {α : Type} [Add α] [Sub α] [Mul α] [Neg α] [OfNat α 0] [OfNat α 1] (sin : α → α) (cos : α → α) (a : V3 α) : (M44 α) :=
-  let t627 := (a.x * (-(1 : α)))
-  let t628 := (a.y * (-(1 : α)))
-  let t629 := (a.z * (-(1 : α)))
-  let t630 := (cos t627)
-  let t631 := (cos t628)
-  let t632 := (cos t629)
-  let t633 := (sin t627)
-  let t634 := (sin t628)
-  let t635 := (sin t629)
-  let t636 := (t630 * t632)
-  let t637 := (t630 * t635)
-  let t638 := (t633 * t632)
-  let t639 := (t633 * t635)
-  ⟨((t634 * t639) + t636), ((t634 * t638) - t637), (t631 * t633), (0 : α), (t631 * t635), (t631 * t632), (-t634), (0 : α), ((t634 * t637) - t638), ((t634 * t636) + t639), (t631 * t630), (0 : α), (0 : α), (0 : α), (0 : α), (1 : α)⟩
+  let t622 := (a.x * (-(1 : α)))
+  let t623 := (a.y * (-(1 : α)))
+  let t624 := (a.z * (-(1 : α)))
+  let t625 := (cos t622)
+  let t626 := (cos t623)
+  let t627 := (cos t624)
+  let t628 := (sin t622)
+  let t629 := (sin t623)
+  let t630 := (sin t624)
+  let t631 := (t625 * t627)
+  let t632 := (t625 * t630)
+  let t633 := (t628 * t627)
+  let t634 := (t628 * t630)
+  ⟨((t629 * t634) + t631), ((t629 * t633) - t632), (t626 * t628), (0 : α), (t626 * t630), (t626 * t627), (-t629), (0 : α), ((t629 * t632) - t633), ((t629 * t631) + t634), (t626 * t625), (0 : α), (0 : α), (0 : α), (0 : α), (1 : α)⟩
 
 /-- extracted from the C++ template at T = Sym; 1 path(s) -/
 def Euler.toQuat_YXZ {α : Type} [Add α] [Sub α] [Mul α] [Div α] [Neg α] [OfNat α 1] [OfNat α 2] (sin : α → α) (cos : α → α) (a : V3 α) : (Quat α) :=
@@ -1199,192 +854,128 @@ def Euler.toQuat_YXZ {α : Type} [Add α] [Sub α] [Mul α] [Div α] [Neg α] [O
   let t39 := (t32 * t37)
   let t40 := (t35 * t34)
   let t41 := (t35 * t37)
-  let t654 := ((-a.y) * ((1 : α) / (2 : α)))
-  let t655 := (cos t654)
-  let t656 := (sin t654)
-  ⟨((t655 * t38) + (t656 * t41)), ⟨(((t655 * t41) + (t656 * t38)) * (-(1 : α))), ((t655 * t40) - (t656 * t39)), ((t655 * t39) - (t656 * t40))⟩⟩
+  let t649 := ((-a.y) * ((1 : α) / (2 : α)))
+  let t650 := (cos t649)
+  let t651 := (sin t649)
+  ⟨((t650 * t38) + (t651 * t41)), ⟨(((t650 * t41) + (t651 * t38)) * (-(1 : α))), ((t650 * t40) - (t651 * t39)), ((t650 * t39) - (t651 * t40))⟩⟩
 
 /-- extracted from the C++ template at T = Sym; 1 path(s) -/
 def Euler.extractM33_YXZ {α : Type} [Add α] [Mul α] [Neg α] [OfNat α 0] [OfNat α 1] (sqrt : α → α) (sin : α → α) (cos : α → α) (atan2 : α → α → α) (m : M33 α) : (V3 α) :=
   let t66 := (cos (0 : α))
   let t68 := (sin (0 : α))
-  let t1773 := (atan2 m.x02 m.x22)
-  let t1774 := (cos t1773)
-  let t1775 := (sin t1773)
-  let t1776 := (t66 * t1774)
-  let t1777 := (t68 * t1774)
-  let t1778 := (-t1775)
-  let t1781 := (((-t68) * t66) + ((t66 * t1775) * t68))
-  let t1784 := ((t66 * t66) + ((t68 * t1775) * t68))
-  let t1785 := (t1774 * t68)
-  let t1791 := ((0 : α) * t1778)
-  let t1792 := ((0 : α) * t1777)
-  let t1795 := ((((1 : α) * t1776) + t1792) + t1791)
-  let t1797 := ((0 : α) * t1776)
-  let t1799 := ((t1797 + ((1 : α) * t1777)) + t1791)
-  let t1801 := (t1797 + t1792)
-  let t1802 := (t1801 + ((1 : α) * t1778))
-  let t1804 := ((0 : α) * t1785)
-  let t1805 := ((0 : α) * t1784)
-  let t1808 := ((((1 : α) * t1781) + t1805) + t1804)
-  let t1810 := ((0 : α) * t1781)
-  let t1812 := ((t1810 + ((1 : α) * t1784)) + t1804)
-  let t1814 := (t1810 + t1805)
-  let t1815 := (t1814 + ((1 : α) * t1785))
-  let t1830 := ((t1801 + t1791) * (0 : α))
-  let t1856 := ((t1814 + t1804) * (0 : α))
-  let t1862 := ((((t1808 * m.x00) + (t1812 * m.x10)) + (t1815 * m.x20)) + t1856)
-  let t1868 := ((((t1808 * m.x01) + (t1812 * m.x11)) + (t1815 * m.x21)) + t1856)
-  ⟨(t1773 * (-(1 : α))), ((atan2 (-((((t1808 * m.x02) + (t1812 * m.x12)) + (t1815 * m.x22)) + t1856)) (sqrt ((t1868 * t1868) + (t1862 * t1862)))) * (-(1 : α))), ((atan2 (-((((t1795 * m.x01) + (t1799 * m.x11)) + (t1802 * m.x21)) + t1830)) ((((t1795 * m.x00) + (t1799 * m.x10)) + (t1802 * m.x20)) + t1830)) * (-(1 : α)))⟩
+  let t1755 := (atan2 m.x02 m.x22)
+  let t1757 := (sin t1755)
+  let t1763 := (((-t68) * t66) + ((t66 * t1757) * t68))
+  let t1766 := ((t66 * t66) + ((t68 * t1757) * t68))
+  let t1767 := ((cos t1755) * t68)
+  let t1786 := ((0 : α) * t1767)
+  let t1787 := ((0 : α) * t1766)
+  let t1790 := ((((1 : α) * t1763) + t1787) + t1786)
+  let t1792 := ((0 : α) * t1763)
+  let t1794 := ((t1792 + ((1 : α) * t1766)) + t1786)
+  let t1796 := (t1792 + t1787)
+  let t1797 := (t1796 + ((1 : α) * t1767))
+  let t1838 := ((t1796 + t1786) * (0 : α))
+  let t1844 := ((((t1790 * m.x00) + (t1794 * m.x10)) + (t1797 * m.x20)) + t1838)
+  let t1850 := ((((t1790 * m.x01) + (t1794 * m.x11)) + (t1797 * m.x21)) + t1838)
+  ⟨(t1755 * (-(1 : α))), ((atan2 (-((((t1790 * m.x02) + (t1794 * m.x12)) + (t1797 * m.x22)) + t1838)) (sqrt ((t1850 * t1850) + (t1844 * t1844)))) * (-(1 : α))), ((atan2 m.x10 m.x11) * (-(1 : α)))⟩
 
 /-- extracted from the C++ template at T = Sym; 1 path(s) -/
 def Euler.extractM44_YXZ {α : Type} [Add α] [Mul α] [Neg α] [OfNat α 0] [OfNat α 1] (sqrt : α → α) (sin : α → α) (cos : α → α) (atan2 : α → α → α) (m : M44 α) : (V3 α) :=
   let t66 := (cos (0 : α))
   let t68 := (sin (0 : α))
-  let t1773 := (atan2 m.x02 m.x22)
-  let t1774 := (cos t1773)
-  let t1775 := (sin t1773)
-  let t1776 := (t66 * t1774)
-  let t1777 := (t68 * t1774)
-  let t1778 := (-t1775)
-  let t1781 := (((-t68) * t66) + ((t66 * t1775) * t68))
-  let t1784 := ((t66 * t66) + ((t68 * t1775) * t68))
-  let t1785 := (t1774 * t68)
-  let t1791 := ((0 : α) * t1778)
-  let t1792 := ((0 : α) * t1777)
-  let t1795 := ((((1 : α) * t1776) + t1792) + t1791)
-  let t1797 := ((0 : α) * t1776)
-  let t1799 := ((t1797 + ((1 : α) * t1777)) + t1791)
-  let t1801 := (t1797 + t1792)
-  let t1802 := (t1801 + ((1 : α) * t1778))
-  let t1803 := (t1801 + t1791)
-  let t1804 := ((0 : α) * t1785)
-  let t1805 := ((0 : α) * t1784)
-  let t1808 := ((((1 : α) * t1781) + t1805) + t1804)
-  let t1810 := ((0 : α) * t1781)
-  let t1812 := ((t1810 + ((1 : α) * t1784)) + t1804)
-  let t1814 := (t1810 + t1805)
-  let t1815 := (t1814 + ((1 : α) * t1785))
-  let t1816 := (t1814 + t1804)
-  let t1933 := ((((t1808 * m.x00) + (t1812 * m.x10)) + (t1815 * m.x20)) + (t1816 * m.x30))
-  let t1935 := ((((t1808 * m.x01) + (t1812 * m.x11)) + (t1815 * m.x21)) + (t1816 * m.x31))
-  ⟨(t1773 * (-(1 : α))), ((atan2 (-((((t1808 * m.x02) + (t1812 * m.x12)) + (t1815 * m.x22)) + (t1816 * m.x32))) (sqrt ((t1935 * t1935) + (t1933 * t1933)))) * (-(1 : α))), ((atan2 (-((((t1795 * m.x01) + (t1799 * m.x11)) + (t1802 * m.x21)) + (t1803 * m.x31))) ((((t1795 * m.x00) + (t1799 * m.x10)) + (t1802 * m.x20)) + (t1803 * m.x30))) * (-(1 : α)))⟩
+  let t1755 := (atan2 m.x02 m.x22)
+  let t1757 := (sin t1755)
+  let t1763 := (((-t68) * t66) + ((t66 * t1757) * t68))
+  let t1766 := ((t66 * t66) + ((t68 * t1757) * t68))
+  let t1767 := ((cos t1755) * t68)
+  let t1786 := ((0 : α) * t1767)
+  let t1787 := ((0 : α) * t1766)
+  let t1790 := ((((1 : α) * t1763) + t1787) + t1786)
+  let t1792 := ((0 : α) * t1763)
+  let t1794 := ((t1792 + ((1 : α) * t1766)) + t1786)
+  let t1796 := (t1792 + t1787)
+  let t1797 := (t1796 + ((1 : α) * t1767))
+  let t1798 := (t1796 + t1786)
+  let t1914 := ((((t1790 * m.x00) + (t1794 * m.x10)) + (t1797 * m.x20)) + (t1798 * m.x30))
+  let t1916 := ((((t1790 * m.x01) + (t1794 * m.x11)) + (t1797 * m.x21)) + (t1798 * m.x31))
+  ⟨(t1755 * (-(1 : α))), ((atan2 (-((((t1790 * m.x02) + (t1794 * m.x12)) + (t1797 * m.x22)) + (t1798 * m.x32))) (sqrt ((t1916 * t1916) + (t1914 * t1914)))) * (-(1 : α))), ((atan2 m.x10 m.x11) * (-(1 : α)))⟩
 
 /-- extracted from the C++ template at T = Sym; 1 path(s) -/
 def Euler.ctorM33_YXZ {α : Type} [Add α] [Mul α] [Neg α] [OfNat α 0] [OfNat α 1] (sqrt : α → α) (sin : α → α) (cos : α → α) (atan2 : α → α → α) (m : M33 α) : ((V3 α) × Int) :=
   let t66 := (cos (0 : α))
   let t68 := (sin (0 : α))
-  let t1773 := (atan2 m.x02 m.x22)
-  let t1774 := (cos t1773)
-  let t1775 := (sin t1773)
-  let t1776 := (t66 * t1774)
-  let t1777 := (t68 * t1774)
-  let t1778 := (-t1775)
-  let t1781 := (((-t68) * t66) + ((t66 * t1775) * t68))
-  let t1784 := ((t66 * t66) + ((t68 * t1775) * t68))
-  let t1785 := (t1774 * t68)
-  let t1791 := ((0 : α) * t1778)
-  let t1792 := ((0 : α) * t1777)
-  let t1795 := ((((1 : α) * t1776) + t1792) + t1791)
-  let t1797 := ((0 : α) * t1776)
-  let t1799 := ((t1797 + ((1 : α) * t1777)) + t1791)
-  let t1801 := (t1797 + t1792)
-  let t1802 := (t1801 + ((1 : α) * t1778))
-  let t1804 := ((0 : α) * t1785)
-  let t1805 := ((0 : α) * t1784)
-  let t1808 := ((((1 : α) * t1781) + t1805) + t1804)
-  let t1810 := ((0 : α) * t1781)
-  let t1812 := ((t1810 + ((1 : α) * t1784)) + t1804)
-  let t1814 := (t1810 + t1805)
-  let t1815 := (t1814 + ((1 : α) * t1785))
-  let t1830 := ((t1801 + t1791) * (0 : α))
-  let t1856 := ((t1814 + t1804) * (0 : α))
-  let t1862 := ((((t1808 * m.x00) + (t1812 * m.x10)) + (t1815 * m.x20)) + t1856)
-  let t1868 := ((((t1808 * m.x01) + (t1812 * m.x11)) + (t1815 * m.x21)) + t1856)
-  (⟨(t1773 * (-(1 : α))), ((atan2 (-((((t1808 * m.x02) + (t1812 * m.x12)) + (t1815 * m.x22)) + t1856)) (sqrt ((t1868 * t1868) + (t1862 * t1862)))) * (-(1 : α))), ((atan2 (-((((t1795 * m.x01) + (t1799 * m.x11)) + (t1802 * m.x21)) + t1830)) ((((t1795 * m.x00) + (t1799 * m.x10)) + (t1802 * m.x20)) + t1830)) * (-(1 : α)))⟩, (4097 : Int))
+  let t1755 := (atan2 m.x02 m.x22)
+  let t1757 := (sin t1755)
+  let t1763 := (((-t68) * t66) + ((t66 * t1757) * t68))
+  let t1766 := ((t66 * t66) + ((t68 * t1757) * t68))
+  let t1767 := ((cos t1755) * t68)
+  let t1786 := ((0 : α) * t1767)
+  let t1787 := ((0 : α) * t1766)
+  let t1790 := ((((1 : α) * t1763) + t1787) + t1786)
+  let t1792 := ((0 : α) * t1763)
+  let t1794 := ((t1792 + ((1 : α) * t1766)) + t1786)
+  let t1796 := (t1792 + t1787)
+  let t1797 := (t1796 + ((1 : α) * t1767))
+  let t1838 := ((t1796 + t1786) * (0 : α))
+  let t1844 := ((((t1790 * m.x00) + (t1794 * m.x10)) + (t1797 * m.x20)) + t1838)
+  let t1850 := ((((t1790 * m.x01) + (t1794 * m.x11)) + (t1797 * m.x21)) + t1838)
+  (⟨(t1755 * (-(1 : α))), ((atan2 (-((((t1790 * m.x02) + (t1794 * m.x12)) + (t1797 * m.x22)) + t1838)) (sqrt ((t1850 * t1850) + (t1844 * t1844)))) * (-(1 : α))), ((atan2 m.x10 m.x11) * (-(1 : α)))⟩, (4097 : Int))
 
 /-- extracted from the C++ template at T = Sym; 1 path(s) -/
 def Euler.ctorM44_YXZ {α : Type} [Add α] [Mul α] [Neg α] [OfNat α 0] [OfNat α 1] (sqrt : α → α) (sin : α → α) (cos : α → α) (atan2 : α → α → α) (m : M44 α) : ((V3 α) × Int) :=
   let t66 := (cos (0 : α))
   let t68 := (sin (0 : α))
-  let t1773 := (atan2 m.x02 m.x22)
-  let t1774 := (cos t1773)
-  let t1775 := (sin t1773)
-  let t1776 := (t66 * t1774)
-  let t1777 := (t68 * t1774)
-  let t1778 := (-t1775)
-  let t1781 := (((-t68) * t66) + ((t66 * t1775) * t68))
-  let t1784 := ((t66 * t66) + ((t68 * t1775) * t68))
-  let t1785 := (t1774 * t68)
-  let t1791 := ((0 : α) * t1778)
-  let t1792 := ((0 : α) * t1777)
-  let t1795 := ((((1 : α) * t1776) + t1792) + t1791)
-  let t1797 := ((0 : α) * t1776)
-  let t1799 := ((t1797 + ((1 : α) * t1777)) + t1791)
-  let t1801 := (t1797 + t1792)
-  let t1802 := (t1801 + ((1 : α) * t1778))
-  let t1803 := (t1801 + t1791)
-  let t1804 := ((0 : α) * t1785)
-  let t1805 := ((0 : α) * t1784)
-  let t1808 := ((((1 : α) * t1781) + t1805) + t1804)
-  let t1810 := ((0 : α) * t1781)
-  let t1812 := ((t1810 + ((1 : α) * t1784)) + t1804)
-  let t1814 := (t1810 + t1805)
-  let t1815 := (t1814 + ((1 : α) * t1785))
-  let t1816 := (t1814 + t1804)
-  let t1933 := ((((t1808 * m.x00) + (t1812 * m.x10)) + (t1815 * m.x20)) + (t1816 * m.x30))
-  let t1935 := ((((t1808 * m.x01) + (t1812 * m.x11)) + (t1815 * m.x21)) + (t1816 * m.x31))
-  (⟨(t1773 * (-(1 : α))), ((atan2 (-((((t1808 * m.x02) + (t1812 * m.x12)) + (t1815 * m.x22)) + (t1816 * m.x32))) (sqrt ((t1935 * t1935) + (t1933 * t1933)))) * (-(1 : α))), ((atan2 (-((((t1795 * m.x01) + (t1799 * m.x11)) + (t1802 * m.x21)) + (t1803 * m.x31))) ((((t1795 * m.x00) + (t1799 * m.x10)) + (t1802 * m.x20)) + (t1803 * m.x30))) * (-(1 : α)))⟩, (4097 : Int))
+  let t1755 := (atan2 m.x02 m.x22)
+  let t1757 := (sin t1755)
+  let t1763 := (((-t68) * t66) + ((t66 * t1757) * t68))
+  let t1766 := ((t66 * t66) + ((t68 * t1757) * t68))
+  let t1767 := ((cos t1755) * t68)
+  let t1786 := ((0 : α) * t1767)
+  let t1787 := ((0 : α) * t1766)
+  let t1790 := ((((1 : α) * t1763) + t1787) + t1786)
+  let t1792 := ((0 : α) * t1763)
+  let t1794 := ((t1792 + ((1 : α) * t1766)) + t1786)
+  let t1796 := (t1792 + t1787)
+  let t1797 := (t1796 + ((1 : α) * t1767))
+  let t1798 := (t1796 + t1786)
+  let t1914 := ((((t1790 * m.x00) + (t1794 * m.x10)) + (t1797 * m.x20)) + (t1798 * m.x30))
+  let t1916 := ((((t1790 * m.x01) + (t1794 * m.x11)) + (t1797 * m.x21)) + (t1798 * m.x31))
+  (⟨(t1755 * (-(1 : α))), ((atan2 (-((((t1790 * m.x02) + (t1794 * m.x12)) + (t1797 * m.x22)) + (t1798 * m.x32))) (sqrt ((t1916 * t1916) + (t1914 * t1914)))) * (-(1 : α))), ((atan2 m.x10 m.x11) * (-(1 : α)))⟩, (4097 : Int))
 
 /-- extracted from the C++ template at T = Sym; 1 path(s) -/
 def Euler.extractQuat_YXZ {α : Type} [Add α] [Sub α] [Mul α] [Neg α] [OfNat α 0] [OfNat α 1] [OfNat α 2] (sqrt : α → α) (sin : α → α) (cos : α → α) (atan2 : α → α → α) (q : Quat α) : (V3 α) :=
   let t66 := (cos (0 : α))
   let t68 := (sin (0 : α))
-  let t309 := (q.v.x * q.v.x)
-  let t310 := (q.v.y * q.v.y)
-  let t314 := ((1 : α) - ((2 : α) * (t310 + t309)))
-  let t315 := (q.v.x * q.r)
-  let t316 := (q.v.y * q.v.z)
-  let t318 := ((2 : α) * (t316 - t315))
-  let t319 := (q.v.y * q.r)
-  let t320 := (q.v.z * q.v.x)
-  let t322 := ((2 : α) * (t320 + t319))
-  let t325 := (q.v.z * q.v.z)
-  let t328 := ((1 : α) - ((2 : α) * (t325 + t309)))
-  let t329 := (q.v.z * q.r)
-  let t330 := (q.v.x * q.v.y)
-  let t332 := ((2 : α) * (t330 - t329))
-  let t334 := ((2 : α) * (t320 - t319))
-  let t336 := ((2 : α) * (t330 + t329))
-  let t339 := ((1 : α) - ((2 : α) * (t310 + t325)))
-  let t1968 := (atan2 t334 t314)
-  let t1969 := (cos t1968)
-  let t1970 := (sin t1968)
-  let t1971 := (t66 * t1969)
-  let t1972 := (t68 * t1969)
-  let t1973 := (-t1970)
-  let t1976 := (((-t68) * t66) + ((t66 * t1970) * t68))
-  let t1979 := ((t66 * t66) + ((t68 * t1970) * t68))
-  let t1980 := (t1969 * t68)
-  let t1986 := ((0 : α) * t1973)
-  let t1987 := ((0 : α) * t1972)
-  let t1990 := ((((1 : α) * t1971) + t1987) + t1986)
-  let t1992 := ((0 : α) * t1971)
-  let t1994 := ((t1992 + ((1 : α) * t1972)) + t1986)
-  let t1996 := (t1992 + t1987)
-  let t1997 := (t1996 + ((1 : α) * t1973))
-  let t1999 := ((0 : α) * t1980)
-  let t2000 := ((0 : α) * t1979)
-  let t2003 := ((((1 : α) * t1976) + t2000) + t1999)
-  let t2005 := ((0 : α) * t1976)
-  let t2007 := ((t2005 + ((1 : α) * t1979)) + t1999)
-  let t2009 := (t2005 + t2000)
-  let t2010 := (t2009 + ((1 : α) * t1980))
-  let t2025 := ((t1996 + t1986) * (0 : α))
-  let t2051 := ((t2009 + t1999) * (0 : α))
-  let t2057 := ((((t2003 * t339) + (t2007 * t332)) + (t2010 * t322)) + t2051)
-  let t2063 := ((((t2003 * t336) + (t2007 * t328)) + (t2010 * t318)) + t2051)
-  ⟨(t1968 * (-(1 : α))), ((atan2 (-((((t2003 * t334) + (t2007 * ((2 : α) * (t316 + t315)))) + (t2010 * t314)) + t2051)) (sqrt ((t2063 * t2063) + (t2057 * t2057)))) * (-(1 : α))), ((atan2 (-((((t1990 * t336) + (t1994 * t328)) + (t1997 * t318)) + t2025)) ((((t1990 * t339) + (t1994 * t332)) + (t1997 * t322)) + t2025)) * (-(1 : α)))⟩
+  let t306 := (q.v.x * q.v.x)
+  let t307 := (q.v.y * q.v.y)
+  let t311 := ((1 : α) - ((2 : α) * (t307 + t306)))
+  let t312 := (q.v.x * q.r)
+  let t313 := (q.v.y * q.v.z)
+  let t316 := (q.v.y * q.r)
+  let t317 := (q.v.z * q.v.x)
+  let t322 := (q.v.z * q.v.z)
+  let t325 := ((1 : α) - ((2 : α) * (t322 + t306)))
+  let t326 := (q.v.z * q.r)
+  let t327 := (q.v.x * q.v.y)
+  let t329 := ((2 : α) * (t327 - t326))
+  let t331 := ((2 : α) * (t317 - t316))
+  let t1946 := (atan2 t331 t311)
+  let t1948 := (sin t1946)
+  let t1954 := (((-t68) * t66) + ((t66 * t1948) * t68))
+  let t1957 := ((t66 * t66) + ((t68 * t1948) * t68))
+  let t1958 := ((cos t1946) * t68)
+  let t1977 := ((0 : α) * t1958)
+  let t1978 := ((0 : α) * t1957)
+  let t1981 := ((((1 : α) * t1954) + t1978) + t1977)
+  let t1983 := ((0 : α) * t1954)
+  let t1985 := ((t1983 + ((1 : α) * t1957)) + t1977)
+  let t1987 := (t1983 + t1978)
+  let t1988 := (t1987 + ((1 : α) * t1958))
+  let t2029 := ((t1987 + t1977) * (0 : α))
+  let t2035 := ((((t1981 * ((1 : α) - ((2 : α) * (t307 + t322)))) + (t1985 * t329)) + (t1988 * ((2 : α) * (t317 + t316)))) + t2029)
+  let t2041 := ((((t1981 * ((2 : α) * (t327 + t326))) + (t1985 * t325)) + (t1988 * ((2 : α) * (t313 - t312)))) + t2029)
+  ⟨(t1946 * (-(1 : α))), ((atan2 (-((((t1981 * t331) + (t1985 * ((2 : α) * (t313 + t312)))) + (t1988 * t311)) + t2029)) (sqrt ((t2041 * t2041) + (t2035 * t2035)))) * (-(1 : α))), ((atan2 t329 t325) * (-(1 : α)))⟩
 
 /-- extracted from the C++ template at T = Sym; 1 path(s) -/
 def Euler.ctorXYZLayout_YXZ {α : Type} (v : V3 α) : ((V3 α) × Int) :=
@@ -1438,44 +1029,28 @@ def Euler.reorderFromXYZ_YXZ {α : Type} [Add α] [Sub α] [Mul α] [Neg α] [Of
   let t11 := (t4 * t9)
   let t12 := (t7 * t6)
   let t13 := (t7 * t9)
-  let t15 := (t5 * t6)
   let t17 := ((t8 * t12) - t11)
-  let t19 := ((t8 * t10) + t13)
-  let t20 := (t5 * t9)
   let t22 := ((t8 * t13) + t10)
-  let t24 := ((t8 * t11) - t12)
   let t25 := (-t8)
   let t27 := (t5 * t4)
   let t66 := (cos (0 : α))
   let t68 := (sin (0 : α))
-  let t2114 := (atan2 t25 t27)
-  let t2115 := (cos t2114)
-  let t2116 := (sin t2114)
-  let t2117 := (t66 * t2115)
-  let t2118 := (t68 * t2115)
-  let t2119 := (-t2116)
-  let t2122 := (((-t68) * t66) + ((t66 * t2116) * t68))
-  let t2125 := ((t66 * t66) + ((t68 * t2116) * t68))
-  let t2126 := (t2115 * t68)
-  let t2132 := ((0 : α) * t2119)
-  let t2133 := ((0 : α) * t2118)
-  let t2136 := ((((1 : α) * t2117) + t2133) + t2132)
-  let t2138 := ((0 : α) * t2117)
-  let t2140 := ((t2138 + ((1 : α) * t2118)) + t2132)
-  let t2142 := (t2138 + t2133)
-  let t2143 := (t2142 + ((1 : α) * t2119))
-  let t2145 := ((0 : α) * t2126)
-  let t2146 := ((0 : α) * t2125)
-  let t2149 := ((((1 : α) * t2122) + t2146) + t2145)
-  let t2151 := ((0 : α) * t2122)
-  let t2153 := ((t2151 + ((1 : α) * t2125)) + t2145)
-  let t2155 := (t2151 + t2146)
-  let t2156 := (t2155 + ((1 : α) * t2126))
-  let t2171 := ((t2142 + t2132) * (0 : α))
-  let t2197 := ((t2155 + t2145) * (0 : α))
-  let t2203 := ((((t2149 * t15) + (t2153 * t17)) + (t2156 * t19)) + t2197)
-  let t2209 := ((((t2149 * t20) + (t2153 * t22)) + (t2156 * t24)) + t2197)
-  (⟨(t2114 * (-(1 : α))), ((atan2 (-((((t2149 * t25) + (t2153 * (t5 * t7))) + (t2156 * t27)) + t2197)) (sqrt ((t2209 * t2209) + (t2203 * t2203)))) * (-(1 : α))), ((atan2 (-((((t2136 * t20) + (t2140 * t22)) + (t2143 * t24)) + t2171)) ((((t2136 * t15) + (t2140 * t17)) + (t2143 * t19)) + t2171)) * (-(1 : α)))⟩, (4097 : Int))
+  let t2091 := (atan2 t25 t27)
+  let t2093 := (sin t2091)
+  let t2099 := (((-t68) * t66) + ((t66 * t2093) * t68))
+  let t2102 := ((t66 * t66) + ((t68 * t2093) * t68))
+  let t2103 := ((cos t2091) * t68)
+  let t2122 := ((0 : α) * t2103)
+  let t2123 := ((0 : α) * t2102)
+  let t2126 := ((((1 : α) * t2099) + t2123) + t2122)
+  let t2128 := ((0 : α) * t2099)
+  let t2130 := ((t2128 + ((1 : α) * t2102)) + t2122)
+  let t2132 := (t2128 + t2123)
+  let t2133 := (t2132 + ((1 : α) * t2103))
+  let t2174 := ((t2132 + t2122) * (0 : α))
+  let t2180 := ((((t2126 * (t5 * t6)) + (t2130 * t17)) + (t2133 * ((t8 * t10) + t13))) + t2174)
+  let t2186 := ((((t2126 * (t5 * t9)) + (t2130 * t22)) + (t2133 * ((t8 * t11) - t12))) + t2174)
+  (⟨(t2091 * (-(1 : α))), ((atan2 (-((((t2126 * t25) + (t2130 * (t5 * t7))) + (t2133 * t27)) + t2174)) (sqrt ((t2186 * t2186) + (t2180 * t2180)))) * (-(1 : α))), ((atan2 t17 t22) * (-(1 : α)))⟩, (4097 : Int))
 
 /-- extracted from the C++ template at T = Sym; 1 path(s) -/
 def Euler.reorderToZYXr_YXZ {α : Type} [Add α] [Sub α] [Mul α] [Neg α] [OfNat α 0] [OfNat α 1] (sqrt : α → α) (sin : α → α) (cos : α → α) (atan2 : α → α → α) (a : V3 α) : ((V3 α) × Int) :=
@@ -1492,45 +1067,26 @@ def Euler.reorderToZYXr_YXZ {α : Type} [Add α] [Sub α] [Mul α] [Neg α] [OfN
   let t99 := (t95 + t90)
   let t100 := (t99 + ((1 : α) * t72))
   let t128 := ((t99 + t89) * (0 : α))
-  let t627 := (a.x * (-(1 : α)))
-  let t628 := (a.y * (-(1 : α)))
-  let t629 := (a.z * (-(1 : α)))
-  let t630 := (cos t627)
-  let t631 := (cos t628)
-  let t632 := (cos t629)
-  let t633 := (sin t627)
-  let t634 := (sin t628)
-  let t635 := (sin t629)
-  let t636 := (t630 * t632)
-  let t637 := (t630 * t635)
-  let t638 := (t633 * t632)
-  let t639 := (t633 * t635)
-  let t640 := (t631 * t632)
-  let t642 := ((t634 * t638) - t637)
-  let t644 := ((t634 * t636) + t639)
-  let t645 := (t631 * t635)
-  let t647 := ((t634 * t639) + t636)
-  let t649 := ((t634 * t637) - t638)
-  let t650 := (-t634)
-  let t652 := (t631 * t630)
-  let t2260 := (atan2 t650 t652)
-  let t2261 := (-t2260)
-  let t2262 := (cos t2261)
-  let t2263 := (sin t2261)
-  let t2266 := ((t72 * t2262) + ((t66 * t68) * t2263))
-  let t2269 := ((t66 * t2262) + ((t68 * t68) * t2263))
-  let t2270 := (t66 * t2263)
-  let t2278 := ((0 : α) * t2270)
-  let t2279 := ((0 : α) * t2269)
-  let t2282 := ((((1 : α) * t2266) + t2279) + t2278)
-  let t2284 := ((0 : α) * t2266)
-  let t2286 := ((t2284 + ((1 : α) * t2269)) + t2278)
-  let t2288 := (t2284 + t2279)
-  let t2289 := (t2288 + ((1 : α) * t2270))
-  let t2309 := ((((t93 * t647) + (t97 * t645)) + (t100 * t649)) + t128)
-  let t2315 := ((((t93 * t642) + (t97 * t640)) + (t100 * t644)) + t128)
-  let t2322 := ((t2288 + t2278) * (0 : α))
-  (⟨(atan2 (-((((t2282 * t647) + (t2286 * t645)) + (t2289 * t649)) + t2322)) ((((t2282 * t642) + (t2286 * t640)) + (t2289 * t644)) + t2322)), (atan2 (-((((t93 * (t631 * t633)) + (t97 * t650)) + (t100 * t652)) + t128)) (sqrt ((t2309 * t2309) + (t2315 * t2315)))), t2260⟩, (256 : Int))
+  let t622 := (a.x * (-(1 : α)))
+  let t623 := (a.y * (-(1 : α)))
+  let t624 := (a.z * (-(1 : α)))
+  let t625 := (cos t622)
+  let t626 := (cos t623)
+  let t627 := (cos t624)
+  let t628 := (sin t622)
+  let t629 := (sin t623)
+  let t630 := (sin t624)
+  let t631 := (t625 * t627)
+  let t632 := (t625 * t630)
+  let t633 := (t628 * t627)
+  let t634 := (t628 * t630)
+  let t637 := ((t629 * t633) - t632)
+  let t642 := ((t629 * t634) + t631)
+  let t645 := (-t629)
+  let t647 := (t626 * t625)
+  let t2285 := ((((t93 * t642) + (t97 * (t626 * t630))) + (t100 * ((t629 * t632) - t633))) + t128)
+  let t2291 := ((((t93 * t637) + (t97 * (t626 * t627))) + (t100 * ((t629 * t631) + t634))) + t128)
+  (⟨(atan2 t637 t642), (atan2 (-((((t93 * (t626 * t628)) + (t97 * t645)) + (t100 * t647)) + t128)) (sqrt ((t2285 * t2285) + (t2291 * t2291)))), (atan2 t645 t647)⟩, (256 : Int))
 
 /-- extracted from the C++ template at T = Sym; 1 path(s) -/
 def Euler.toMatrix33_ZXY {α : Type} [Add α] [Sub α] [Mul α] [Neg α] (sin : α → α) (cos : α → α) (a : V3 α) : (M33 α) :=
@@ -1583,33 +1139,23 @@ def Euler.extractM33_ZXY {α : Type} [Add α] [Mul α] [Neg α] [OfNat α 0] [Of
   let t68 := (sin (0 : α))
   let t70 := (t66 * t66)
   let t72 := (-t68)
-  let t89 := ((0 : α) * t72)
   let t95 := ((0 : α) * t70)
-  let t2391 := (atan2 m.x01 m.x11)
-  let t2392 := (-t2391)
-  let t2393 := (cos t2392)
-  let t2394 := (sin t2392)
-  let t2395 := (t2393 * t66)
-  let t2396 := (t2394 * t66)
-  let t2407 := (((-t2394) * t72) + ((t2393 * t68) * t66))
-  let t2410 := ((t2393 * t72) + ((t2394 * t68) * t66))
-  let t2411 := ((0 : α) * t2396)
-  let t2414 := ((((1 : α) * t2395) + t2411) + t89)
-  let t2416 := ((0 : α) * t2395)
-  let t2418 := ((t2416 + ((1 : α) * t2396)) + t89)
-  let t2419 := (t2416 + t2411)
-  let t2420 := (t2419 + ((1 : α) * t72))
-  let t2435 := ((0 : α) * t2410)
-  let t2438 := ((((1 : α) * t2407) + t2435) + t95)
-  let t2440 := ((0 : α) * t2407)
-  let t2442 := ((t2440 + ((1 : α) * t2410)) + t95)
-  let t2443 := (t2440 + t2435)
-  let t2444 := (t2443 + ((1 : α) * t70))
-  let t2446 := ((t2419 + t89) * (0 : α))
-  let t2498 := ((t2443 + t95) * (0 : α))
-  let t2504 := ((((t2438 * m.x00) + (t2442 * m.x10)) + (t2444 * m.x20)) + t2498)
-  let t2516 := ((((t2438 * m.x02) + (t2442 * m.x12)) + (t2444 * m.x22)) + t2498)
-  ⟨t2391, (atan2 (-((((t2438 * m.x01) + (t2442 * m.x11)) + (t2444 * m.x21)) + t2498)) (sqrt ((t2516 * t2516) + (t2504 * t2504)))), (atan2 (-((((t2414 * m.x02) + (t2418 * m.x12)) + (t2420 * m.x22)) + t2446)) ((((t2414 * m.x00) + (t2418 * m.x10)) + (t2420 * m.x20)) + t2446))⟩
+  let t2366 := (atan2 m.x01 m.x11)
+  let t2367 := (-t2366)
+  let t2368 := (cos t2367)
+  let t2369 := (sin t2367)
+  let t2382 := (((-t2369) * t72) + ((t2368 * t68) * t66))
+  let t2385 := ((t2368 * t72) + ((t2369 * t68) * t66))
+  let t2410 := ((0 : α) * t2385)
+  let t2413 := ((((1 : α) * t2382) + t2410) + t95)
+  let t2415 := ((0 : α) * t2382)
+  let t2417 := ((t2415 + ((1 : α) * t2385)) + t95)
+  let t2418 := (t2415 + t2410)
+  let t2419 := (t2418 + ((1 : α) * t70))
+  let t2473 := ((t2418 + t95) * (0 : α))
+  let t2479 := ((((t2413 * m.x00) + (t2417 * m.x10)) + (t2419 * m.x20)) + t2473)
+  let t2491 := ((((t2413 * m.x02) + (t2417 * m.x12)) + (t2419 * m.x22)) + t2473)
+  ⟨t2366, (atan2 (-((((t2413 * m.x01) + (t2417 * m.x11)) + (t2419 * m.x21)) + t2473)) (sqrt ((t2491 * t2491) + (t2479 * t2479)))), (atan2 m.x20 m.x22)⟩
 
 /-- extracted from the C++ template at T = Sym; 1 path(s) -/
 def Euler.extractM44_ZXY {α : Type} [Add α] [Mul α] [Neg α] [OfNat α 0] [OfNat α 1] (sqrt : α → α) (sin : α → α) (cos : α → α) (atan2 : α → α → α) (m : M44 α) : (V3 α) :=
@@ -1617,33 +1163,23 @@ def Euler.extractM44_ZXY {α : Type} [Add α] [Mul α] [Neg α] [OfNat α 0] [Of
   let t68 := (sin (0 : α))
   let t70 := (t66 * t66)
   let t72 := (-t68)
-  let t89 := ((0 : α) * t72)
   let t95 := ((0 : α) * t70)
-  let t2391 := (atan2 m.x01 m.x11)
-  let t2392 := (-t2391)
-  let t2393 := (cos t2392)
-  let t2394 := (sin t2392)
-  let t2395 := (t2393 * t66)
-  let t2396 := (t2394 * t66)
-  let t2407 := (((-t2394) * t72) + ((t2393 * t68) * t66))
-  let t2410 := ((t2393 * t72) + ((t2394 * t68) * t66))
-  let t2411 := ((0 : α) * t2396)
-  let t2414 := ((((1 : α) * t2395) + t2411) + t89)
-  let t2416 := ((0 : α) * t2395)
-  let t2418 := ((t2416 + ((1 : α) * t2396)) + t89)
-  let t2419 := (t2416 + t2411)
-  let t2420 := (t2419 + ((1 : α) * t72))
-  let t2421 := (t2419 + t89)
-  let t2435 := ((0 : α) * t2410)
-  let t2438 := ((((1 : α) * t2407) + t2435) + t95)
-  let t2440 := ((0 : α) * t2407)
-  let t2442 := ((t2440 + ((1 : α) * t2410)) + t95)
-  let t2443 := (t2440 + t2435)
-  let t2444 := (t2443 + ((1 : α) * t70))
-  let t2445 := (t2443 + t95)
-  let t2559 := ((((t2438 * m.x00) + (t2442 * m.x10)) + (t2444 * m.x20)) + (t2445 * m.x30))
-  let t2563 := ((((t2438 * m.x02) + (t2442 * m.x12)) + (t2444 * m.x22)) + (t2445 * m.x32))
-  ⟨t2391, (atan2 (-((((t2438 * m.x01) + (t2442 * m.x11)) + (t2444 * m.x21)) + (t2445 * m.x31))) (sqrt ((t2563 * t2563) + (t2559 * t2559)))), (atan2 (-((((t2414 * m.x02) + (t2418 * m.x12)) + (t2420 * m.x22)) + (t2421 * m.x32))) ((((t2414 * m.x00) + (t2418 * m.x10)) + (t2420 * m.x20)) + (t2421 * m.x30)))⟩
+  let t2366 := (atan2 m.x01 m.x11)
+  let t2367 := (-t2366)
+  let t2368 := (cos t2367)
+  let t2369 := (sin t2367)
+  let t2382 := (((-t2369) * t72) + ((t2368 * t68) * t66))
+  let t2385 := ((t2368 * t72) + ((t2369 * t68) * t66))
+  let t2410 := ((0 : α) * t2385)
+  let t2413 := ((((1 : α) * t2382) + t2410) + t95)
+  let t2415 := ((0 : α) * t2382)
+  let t2417 := ((t2415 + ((1 : α) * t2385)) + t95)
+  let t2418 := (t2415 + t2410)
+  let t2419 := (t2418 + ((1 : α) * t70))
+  let t2420 := (t2418 + t95)
+  let t2533 := ((((t2413 * m.x00) + (t2417 * m.x10)) + (t2419 * m.x20)) + (t2420 * m.x30))
+  let t2537 := ((((t2413 * m.x02) + (t2417 * m.x12)) + (t2419 * m.x22)) + (t2420 * m.x32))
+  ⟨t2366, (atan2 (-((((t2413 * m.x01) + (t2417 * m.x11)) + (t2419 * m.x21)) + (t2420 * m.x31))) (sqrt ((t2537 * t2537) + (t2533 * t2533)))), (atan2 m.x20 m.x22)⟩
 
 /-- extracted from the C++ template at T = Sym; 1 path(s) -/
 def Euler.ctorM33_ZXY {α : Type} [Add α] [Mul α] [Neg α] [OfNat α 0] [OfNat α 1] (sqrt : α → α) (sin : α → α) (cos : α → α) (atan2 : α → α → α) (m : M33 α) : ((V3 α) × Int) :=
@@ -1651,33 +1187,23 @@ def Euler.ctorM33_ZXY {α : Type} [Add α] [Mul α] [Neg α] [OfNat α 0] [OfNat
   let t68 := (sin (0 : α))
   let t70 := (t66 * t66)
   let t72 := (-t68)
-  let t89 := ((0 : α) * t72)
   let t95 := ((0 : α) * t70)
-  let t2391 := (atan2 m.x01 m.x11)
-  let t2392 := (-t2391)
-  let t2393 := (cos t2392)
-  let t2394 := (sin t2392)
-  let t2395 := (t2393 * t66)
-  let t2396 := (t2394 * t66)
-  let t2407 := (((-t2394) * t72) + ((t2393 * t68) * t66))
-  let t2410 := ((t2393 * t72) + ((t2394 * t68) * t66))
-  let t2411 := ((0 : α) * t2396)
-  let t2414 := ((((1 : α) * t2395) + t2411) + t89)
-  let t2416 := ((0 : α) * t2395)
-  let t2418 := ((t2416 + ((1 : α) * t2396)) + t89)
-  let t2419 := (t2416 + t2411)
-  let t2420 := (t2419 + ((1 : α) * t72))
-  let t2435 := ((0 : α) * t2410)
-  let t2438 := ((((1 : α) * t2407) + t2435) + t95)
-  let t2440 := ((0 : α) * t2407)
-  let t2442 := ((t2440 + ((1 : α) * t2410)) + t95)
-  let t2443 := (t2440 + t2435)
-  let t2444 := (t2443 + ((1 : α) * t70))
-  let t2446 := ((t2419 + t89) * (0 : α))
-  let t2498 := ((t2443 + t95) * (0 : α))
-  let t2504 := ((((t2438 * m.x00) + (t2442 * m.x10)) + (t2444 * m.x20)) + t2498)
-  let t2516 := ((((t2438 * m.x02) + (t2442 * m.x12)) + (t2444 * m.x22)) + t2498)
-  (⟨t2391, (atan2 (-((((t2438 * m.x01) + (t2442 * m.x11)) + (t2444 * m.x21)) + t2498)) (sqrt ((t2516 * t2516) + (t2504 * t2504)))), (atan2 (-((((t2414 * m.x02) + (t2418 * m.x12)) + (t2420 * m.x22)) + t2446)) ((((t2414 * m.x00) + (t2418 * m.x10)) + (t2420 * m.x20)) + t2446))⟩, (8449 : Int))
+  let t2366 := (atan2 m.x01 m.x11)
+  let t2367 := (-t2366)
+  let t2368 := (cos t2367)
+  let t2369 := (sin t2367)
+  let t2382 := (((-t2369) * t72) + ((t2368 * t68) * t66))
+  let t2385 := ((t2368 * t72) + ((t2369 * t68) * t66))
+  let t2410 := ((0 : α) * t2385)
+  let t2413 := ((((1 : α) * t2382) + t2410) + t95)
+  let t2415 := ((0 : α) * t2382)
+  let t2417 := ((t2415 + ((1 : α) * t2385)) + t95)
+  let t2418 := (t2415 + t2410)
+  let t2419 := (t2418 + ((1 : α) * t70))
+  let t2473 := ((t2418 + t95) * (0 : α))
+  let t2479 := ((((t2413 * m.x00) + (t2417 * m.x10)) + (t2419 * m.x20)) + t2473)
+  let t2491 := ((((t2413 * m.x02) + (t2417 * m.x12)) + (t2419 * m.x22)) + t2473)
+  (⟨t2366, (atan2 (-((((t2413 * m.x01) + (t2417 * m.x11)) + (t2419 * m.x21)) + t2473)) (sqrt ((t2491 * t2491) + (t2479 * t2479)))), (atan2 m.x20 m.x22)⟩, (8449 : Int))
 
 /-- extracted from the C++ template at T = Sym; 1 path(s) -/
 def Euler.ctorM44_ZXY {α : Type} [Add α] [Mul α] [Neg α] [OfNat α 0] [OfNat α 1] (sqrt : α → α) (sin : α → α) (cos : α → α) (atan2 : α → α → α) (m : M44 α) : ((V3 α) × Int) :=
@@ -1685,33 +1211,23 @@ def Euler.ctorM44_ZXY {α : Type} [Add α] [Mul α] [Neg α] [OfNat α 0] [OfNat
   let t68 := (sin (0 : α))
   let t70 := (t66 * t66)
   let t72 := (-t68)
-  let t89 := ((0 : α) * t72)
   let t95 := ((0 : α) * t70)
-  let t2391 := (atan2 m.x01 m.x11)
-  let t2392 := (-t2391)
-  let t2393 := (cos t2392)
-  let t2394 := (sin t2392)
-  let t2395 := (t2393 * t66)
-  let t2396 := (t2394 * t66)
-  let t2407 := (((-t2394) * t72) + ((t2393 * t68) * t66))
-  let t2410 := ((t2393 * t72) + ((t2394 * t68) * t66))
-  let t2411 := ((0 : α) * t2396)
-  let t2414 := ((((1 : α) * t2395) + t2411) + t89)
-  let t2416 := ((0 : α) * t2395)
-  let t2418 := ((t2416 + ((1 : α) * t2396)) + t89)
-  let t2419 := (t2416 + t2411)
-  let t2420 := (t2419 + ((1 : α) * t72))
-  let t2421 := (t2419 + t89)
-  let t2435 := ((0 : α) * t2410)
-  let t2438 := ((((1 : α) * t2407) + t2435) + t95)
-  let t2440 := ((0 : α) * t2407)
-  let t2442 := ((t2440 + ((1 : α) * t2410)) + t95)
-  let t2443 := (t2440 + t2435)
-  let t2444 := (t2443 + ((1 : α) * t70))
-  let t2445 := (t2443 + t95)
-  let t2559 := ((((t2438 * m.x00) + (t2442 * m.x10)) + (t2444 * m.x20)) + (t2445 * m.x30))
-  let t2563 := ((((t2438 * m.x02) + (t2442 * m.x12)) + (t2444 * m.x22)) + (t2445 * m.x32))
-  (⟨t2391, (atan2 (-((((t2438 * m.x01) + (t2442 * m.x11)) + (t2444 * m.x21)) + (t2445 * m.x31))) (sqrt ((t2563 * t2563) + (t2559 * t2559)))), (atan2 (-((((t2414 * m.x02) + (t2418 * m.x12)) + (t2420 * m.x22)) + (t2421 * m.x32))) ((((t2414 * m.x00) + (t2418 * m.x10)) + (t2420 * m.x20)) + (t2421 * m.x30)))⟩, (8449 : Int))
+  let t2366 := (atan2 m.x01 m.x11)
+  let t2367 := (-t2366)
+  let t2368 := (cos t2367)
+  let t2369 := (sin t2367)
+  let t2382 := (((-t2369) * t72) + ((t2368 * t68) * t66))
+  let t2385 := ((t2368 * t72) + ((t2369 * t68) * t66))
+  let t2410 := ((0 : α) * t2385)
+  let t2413 := ((((1 : α) * t2382) + t2410) + t95)
+  let t2415 := ((0 : α) * t2382)
+  let t2417 := ((t2415 + ((1 : α) * t2385)) + t95)
+  let t2418 := (t2415 + t2410)
+  let t2419 := (t2418 + ((1 : α) * t70))
+  let t2420 := (t2418 + t95)
+  let t2533 := ((((t2413 * m.x00) + (t2417 * m.x10)) + (t2419 * m.x20)) + (t2420 * m.x30))
+  let t2537 := ((((t2413 * m.x02) + (t2417 * m.x12)) + (t2419 * m.x22)) + (t2420 * m.x32))
+  (⟨t2366, (atan2 (-((((t2413 * m.x01) + (t2417 * m.x11)) + (t2419 * m.x21)) + (t2420 * m.x31))) (sqrt ((t2537 * t2537) + (t2533 * t2533)))), (atan2 m.x20 m.x22)⟩, (8449 : Int))
 
 /-- extracted from the C++ template at T = Sym; 1 path(s) -/
 def Euler.extractQuat_ZXY {α : Type} [Add α] [Sub α] [Mul α] [Neg α] [OfNat α 0] [OfNat α 1] [OfNat α 2] (sqrt : α → α) (sin : α → α) (cos : α → α) (atan2 : α → α → α) (q : Quat α) : (V3 α) :=
@@ -1719,50 +1235,36 @@ def Euler.extractQuat_ZXY {α : Type} [Add α] [Sub α] [Mul α] [Neg α] [OfNat
   let t68 := (sin (0 : α))
   let t70 := (t66 * t66)
   let t72 := (-t68)
-  let t89 := ((0 : α) * t72)
   let t95 := ((0 : α) * t70)
-  let t309 := (q.v.x * q.v.x)
-  let t310 := (q.v.y * q.v.y)
-  let t314 := ((1 : α) - ((2 : α) * (t310 + t309)))
-  let t315 := (q.v.x * q.r)
-  let t316 := (q.v.y * q.v.z)
-  let t319 := (q.v.y * q.r)
-  let t320 := (q.v.z * q.v.x)
-  let t322 := ((2 : α) * (t320 + t319))
-  let t324 := ((2 : α) * (t316 + t315))
-  let t325 := (q.v.z * q.v.z)
-  let t328 := ((1 : α) - ((2 : α) * (t325 + t309)))
-  let t329 := (q.v.z * q.r)
-  let t330 := (q.v.x * q.v.y)
-  let t332 := ((2 : α) * (t330 - t329))
-  let t334 := ((2 : α) * (t320 - t319))
-  let t336 := ((2 : α) * (t330 + t329))
-  let t339 := ((1 : α) - ((2 : α) * (t310 + t325)))
-  let t2579 := (atan2 t336 t328)
-  let t2580 := (-t2579)
-  let t2581 := (cos t2580)
-  let t2582 := (sin t2580)
-  let t2583 := (t2581 * t66)
-  let t2584 := (t2582 * t66)
-  let t2595 := (((-t2582) * t72) + ((t2581 * t68) * t66))
-  let t2598 := ((t2581 * t72) + ((t2582 * t68) * t66))
-  let t2599 := ((0 : α) * t2584)
-  let t2602 := ((((1 : α) * t2583) + t2599) + t89)
-  let t2604 := ((0 : α) * t2583)
-  let t2606 := ((t2604 + ((1 : α) * t2584)) + t89)
-  let t2607 := (t2604 + t2599)
-  let t2608 := (t2607 + ((1 : α) * t72))
-  let t2621 := ((0 : α) * t2598)
-  let t2624 := ((((1 : α) * t2595) + t2621) + t95)
-  let t2626 := ((0 : α) * t2595)
-  let t2628 := ((t2626 + ((1 : α) * t2598)) + t95)
-  let t2629 := (t2626 + t2621)
-  let t2630 := (t2629 + ((1 : α) * t70))
-  let t2632 := ((t2607 + t89) * (0 : α))
-  let t2684 := ((t2629 + t95) * (0 : α))
-  let t2690 := ((((t2624 * t339) + (t2628 * t332)) + (t2630 * t322)) + t2684)
-  let t2702 := ((((t2624 * t334) + (t2628 * t324)) + (t2630 * t314)) + t2684)
-  ⟨t2579, (atan2 (-((((t2624 * t336) + (t2628 * t328)) + (t2630 * ((2 : α) * (t316 - t315)))) + t2684)) (sqrt ((t2702 * t2702) + (t2690 * t2690)))), (atan2 (-((((t2602 * t334) + (t2606 * t324)) + (t2608 * t314)) + t2632)) ((((t2602 * t339) + (t2606 * t332)) + (t2608 * t322)) + t2632))⟩
+  let t306 := (q.v.x * q.v.x)
+  let t307 := (q.v.y * q.v.y)
+  let t311 := ((1 : α) - ((2 : α) * (t307 + t306)))
+  let t312 := (q.v.x * q.r)
+  let t313 := (q.v.y * q.v.z)
+  let t316 := (q.v.y * q.r)
+  let t317 := (q.v.z * q.v.x)
+  let t319 := ((2 : α) * (t317 + t316))
+  let t322 := (q.v.z * q.v.z)
+  let t325 := ((1 : α) - ((2 : α) * (t322 + t306)))
+  let t326 := (q.v.z * q.r)
+  let t327 := (q.v.x * q.v.y)
+  let t333 := ((2 : α) * (t327 + t326))
+  let t2551 := (atan2 t333 t325)
+  let t2552 := (-t2551)
+  let t2553 := (cos t2552)
+  let t2554 := (sin t2552)
+  let t2567 := (((-t2554) * t72) + ((t2553 * t68) * t66))
+  let t2570 := ((t2553 * t72) + ((t2554 * t68) * t66))
+  let t2593 := ((0 : α) * t2570)
+  let t2596 := ((((1 : α) * t2567) + t2593) + t95)
+  let t2598 := ((0 : α) * t2567)
+  let t2600 := ((t2598 + ((1 : α) * t2570)) + t95)
+  let t2601 := (t2598 + t2593)
+  let t2602 := (t2601 + ((1 : α) * t70))
+  let t2656 := ((t2601 + t95) * (0 : α))
+  let t2662 := ((((t2596 * ((1 : α) - ((2 : α) * (t307 + t322)))) + (t2600 * ((2 : α) * (t327 - t326)))) + (t2602 * t319)) + t2656)
+  let t2674 := ((((t2596 * ((2 : α) * (t317 - t316))) + (t2600 * ((2 : α) * (t313 + t312)))) + (t2602 * t311)) + t2656)
+  ⟨t2551, (atan2 (-((((t2596 * t333) + (t2600 * t325)) + (t2602 * ((2 : α) * (t313 - t312)))) + t2656)) (sqrt ((t2674 * t2674) + (t2662 * t2662)))), (atan2 t319 t311)⟩
 
 /-- extracted from the C++ template at T = Sym; 1 path(s) -/
 def Euler.ctorXYZLayout_ZXY {α : Type} (v : V3 α) : ((V3 α) × Int) :=
@@ -1816,45 +1318,31 @@ def Euler.reorderFromXYZ_ZXY {α : Type} [Add α] [Sub α] [Mul α] [Neg α] [Of
   let t11 := (t4 * t9)
   let t12 := (t7 * t6)
   let t13 := (t7 * t9)
-  let t15 := (t5 * t6)
-  let t17 := ((t8 * t12) - t11)
   let t19 := ((t8 * t10) + t13)
   let t20 := (t5 * t9)
   let t22 := ((t8 * t13) + t10)
-  let t25 := (-t8)
-  let t26 := (t5 * t7)
   let t27 := (t5 * t4)
   let t66 := (cos (0 : α))
   let t68 := (sin (0 : α))
   let t70 := (t66 * t66)
   let t72 := (-t68)
-  let t89 := ((0 : α) * t72)
   let t95 := ((0 : α) * t70)
-  let t1642 := (atan2 t20 t22)
-  let t1643 := (-t1642)
-  let t1644 := (cos t1643)
-  let t1645 := (sin t1643)
-  let t2718 := (t1644 * t66)
-  let t2719 := (t1645 * t66)
-  let t2729 := (((-t1645) * t72) + ((t1644 * t68) * t66))
-  let t2732 := ((t1644 * t72) + ((t1645 * t68) * t66))
-  let t2733 := ((0 : α) * t2719)
-  let t2736 := ((((1 : α) * t2718) + t2733) + t89)
-  let t2738 := ((0 : α) * t2718)
-  let t2740 := ((t2738 + ((1 : α) * t2719)) + t89)
-  let t2741 := (t2738 + t2733)
-  let t2742 := (t2741 + ((1 : α) * t72))
-  let t2755 := ((0 : α) * t2732)
-  let t2758 := ((((1 : α) * t2729) + t2755) + t95)
-  let t2760 := ((0 : α) * t2729)
-  let t2762 := ((t2760 + ((1 : α) * t2732)) + t95)
-  let t2763 := (t2760 + t2755)
-  let t2764 := (t2763 + ((1 : α) * t70))
-  let t2766 := ((t2741 + t89) * (0 : α))
-  let t2818 := ((t2763 + t95) * (0 : α))
-  let t2824 := ((((t2758 * t15) + (t2762 * t17)) + (t2764 * t19)) + t2818)
-  let t2836 := ((((t2758 * t25) + (t2762 * t26)) + (t2764 * t27)) + t2818)
-  (⟨t1642, (atan2 (-((((t2758 * t20) + (t2762 * t22)) + (t2764 * ((t8 * t11) - t12))) + t2818)) (sqrt ((t2836 * t2836) + (t2824 * t2824)))), (atan2 (-((((t2736 * t25) + (t2740 * t26)) + (t2742 * t27)) + t2766)) ((((t2736 * t15) + (t2740 * t17)) + (t2742 * t19)) + t2766))⟩, (8449 : Int))
+  let t1625 := (atan2 t20 t22)
+  let t1626 := (-t1625)
+  let t1627 := (cos t1626)
+  let t1628 := (sin t1626)
+  let t2700 := (((-t1628) * t72) + ((t1627 * t68) * t66))
+  let t2703 := ((t1627 * t72) + ((t1628 * t68) * t66))
+  let t2726 := ((0 : α) * t2703)
+  let t2729 := ((((1 : α) * t2700) + t2726) + t95)
+  let t2731 := ((0 : α) * t2700)
+  let t2733 := ((t2731 + ((1 : α) * t2703)) + t95)
+  let t2734 := (t2731 + t2726)
+  let t2735 := (t2734 + ((1 : α) * t70))
+  let t2789 := ((t2734 + t95) * (0 : α))
+  let t2795 := ((((t2729 * (t5 * t6)) + (t2733 * ((t8 * t12) - t11))) + (t2735 * t19)) + t2789)
+  let t2807 := ((((t2729 * (-t8)) + (t2733 * (t5 * t7))) + (t2735 * t27)) + t2789)
+  (⟨t1625, (atan2 (-((((t2729 * t20) + (t2733 * t22)) + (t2735 * ((t8 * t11) - t12))) + t2789)) (sqrt ((t2807 * t2807) + (t2795 * t2795)))), (atan2 t19 t27)⟩, (8449 : Int))
 
 /-- extracted from the C++ template at T = Sym; 1 path(s) -/
 def Euler.reorderToZYXr_ZXY {α : Type} [Add α] [Sub α] [Mul α] [Neg α] [OfNat α 0] [OfNat α 1] (sqrt : α → α) (sin : α → α) (cos : α → α) (atan2 : α → α → α) (a : V3 α) : ((V3 α) × Int) :=
@@ -1870,12 +1358,8 @@ def Euler.reorderToZYXr_ZXY {α : Type} [Add α] [Sub α] [Mul α] [Neg α] [OfN
   let t13 := (t7 * t9)
   let t15 := (t5 * t6)
   let t19 := ((t8 * t10) + t13)
-  let t20 := (t5 * t9)
   let t22 := ((t8 * t13) + t10)
-  let t24 := ((t8 * t11) - t12)
-  let t25 := (-t8)
   let t26 := (t5 * t7)
-  let t27 := (t5 * t4)
   let t66 := (cos (0 : α))
   let t68 := (sin (0 : α))
   let t70 := (t66 * t66)
@@ -1889,58 +1373,43 @@ def Euler.reorderToZYXr_ZXY {α : Type} [Add α] [Sub α] [Mul α] [Neg α] [OfN
   let t99 := (t95 + t90)
   let t100 := (t99 + ((1 : α) * t72))
   let t128 := ((t99 + t89) * (0 : α))
-  let t1498 := (atan2 t19 t15)
-  let t1499 := (-t1498)
-  let t1500 := (cos t1499)
-  let t1501 := (sin t1499)
-  let t1505 := (t66 * t1501)
-  let t2854 := ((t72 * t1500) + ((t66 * t68) * t1501))
-  let t2856 := ((t66 * t1500) + ((t68 * t68) * t1501))
-  let t2863 := ((0 : α) * t1505)
-  let t2864 := ((0 : α) * t2856)
-  let t2867 := ((((1 : α) * t2854) + t2864) + t2863)
-  let t2869 := ((0 : α) * t2854)
-  let t2871 := ((t2869 + ((1 : α) * t2856)) + t2863)
-  let t2873 := (t2869 + t2864)
-  let t2874 := (t2873 + ((1 : α) * t1505))
-  let t2892 := ((((t93 * t22) + (t97 * t24)) + (t100 * t20)) + t128)
-  let t2898 := ((((t93 * t26) + (t97 * t27)) + (t100 * t25)) + t128)
-  let t2905 := ((t2873 + t2863) * (0 : α))
-  (⟨(atan2 (-((((t2867 * t22) + (t2871 * t24)) + (t2874 * t20)) + t2905)) ((((t2867 * t26) + (t2871 * t27)) + (t2874 * t25)) + t2905)), (atan2 (-((((t93 * ((t8 * t12) - t11)) + (t97 * t19)) + (t100 * t15)) + t128)) (sqrt ((t2892 * t2892) + (t2898 * t2898)))), t1498⟩, (256 : Int))
+  let t2861 := ((((t93 * t22) + (t97 * ((t8 * t11) - t12))) + (t100 * (t5 * t9))) + t128)
+  let t2867 := ((((t93 * t26) + (t97 * (t5 * t4))) + (t100 * (-t8))) + t128)
+  (⟨(atan2 t26 t22), (atan2 (-((((t93 * ((t8 * t12) - t11)) + (t97 * t19)) + (t100 * t15)) + t128)) (sqrt ((t2861 * t2861) + (t2867 * t2867)))), (atan2 t19 t15)⟩, (256 : Int))
 
 /-- extracted from the C++ template at T = Sym; 1 path(s) -/
 def Euler.toMatrix33_ZYX {α : Type} [Add α] [Sub α] [Mul α] [Neg α] [OfNat α 1] (sin : α → α) (cos : α → α) (a : V3 α) : (M33 α) :=
-  let t627 := (a.x * (-(1 : α)))
-  let t628 := (a.y * (-(1 : α)))
-  let t629 := (a.z * (-(1 : α)))
-  let t630 := (cos t627)
-  let t631 := (cos t628)
-  let t632 := (cos t629)
-  let t633 := (sin t627)
-  let t634 := (sin t628)
-  let t635 := (sin t629)
-  let t636 := (t630 * t632)
-  let t637 := (t630 * t635)
-  let t638 := (t633 * t632)
-  let t639 := (t633 * t635)
-  ⟨(t631 * t630), ((t634 * t637) - t638), ((t634 * t636) + t639), (t631 * t633), ((t634 * t639) + t636), ((t634 * t638) - t637), (-t634), (t631 * t635), (t631 * t632)⟩
+  let t622 := (a.x * (-(1 : α)))
+  let t623 := (a.y * (-(1 : α)))
+  let t624 := (a.z * (-(1 : α)))
+  let t625 := (cos t622)
+  let t626 := (cos t623)
+  let t627 := (cos t624)
+  let t628 := (sin t622)
+  let t629 := (sin t623)
+  let t630 := (sin t624)
+  let t631 := (t625 * t627)
+  let t632 := (t625 * t630)
+  let t633 := (t628 * t627)
+  let t634 := (t628 * t630)
+  ⟨(t626 * t625), ((t629 * t632) - t633), ((t629 * t631) + t634), (t626 * t628), ((t629 * t634) + t631), ((t629 * t633) - t632), (-t629), (t626 * t630), (t626 * t627)⟩
 
 /-- extracted from the C++ template at T = Sym; 1 path(s) -/
 def Euler.toMatrix44_ZYX {α : Type} [Add α] [Sub α] [Mul α] [Neg α] [OfNat α 0] [OfNat α 1] (sin : α → α) (cos : α → α) (a : V3 α) : (M44 α) :=
-  let t627 := (a.x * (-(1 : α)))
-  let t628 := (a.y * (-(1 : α)))
-  let t629 := (a.z * (-(1 : α)))
-  let t630 := (cos t627)
-  let t631 := (cos t628)
-  let t632 := (cos t629)
-  let t633 := (sin t627)
-  let t634 := (sin t628)
-  let t635 := (sin t629)
-  let t636 := (t630 * t632)
-  let t637 := (t630 * t635)
-  let t638 := (t633 * t632)
-  let t639 := (t633 * t635)
-  ⟨(t631 * t630), ((t634 * t637) - t638), ((t634 * t636) + t639), (0 : α), (t631 * t633), ((t634 * t639) + t636), ((t634 * t638) - t637), (0 : α), (-t634), (t631 * t635), (t631 * t632), (0 : α), (0 : α), (0 : α), (0 : α), (1 : α)⟩
+  let t622 := (a.x * (-(1 : α)))
+  let t623 := (a.y * (-(1 : α)))
+  let t624 := (a.z * (-(1 : α)))
+  let t625 := (cos t622)
+  let t626 := (cos t623)
+  let t627 := (cos t624)
+  let t628 := (sin t622)
+  let t629 := (sin t623)
+  let t630 := (sin t624)
+  let t631 := (t625 * t627)
+  let t632 := (t625 * t630)
+  let t633 := (t628 * t627)
+  let t634 := (t628 * t630)
+  ⟨(t626 * t625), ((t629 * t632) - t633), ((t629 * t631) + t634), (0 : α), (t626 * t628), ((t629 * t634) + t631), ((t629 * t633) - t632), (0 : α), (-t629), (t626 * t630), (t626 * t627), (0 : α), (0 : α), (0 : α), (0 : α), (1 : α)⟩
 
 /-- extracted from the C++ template at T = Sym; 1 path(s) -/
 def Euler.toQuat_ZYX {α : Type} [Add α] [Sub α] [Mul α] [Div α] [Neg α] [OfNat α 1] [OfNat α 2] (sin : α → α) (cos : α → α) (a : V3 α) : (Quat α) :=
@@ -1954,10 +1423,10 @@ def Euler.toQuat_ZYX {α : Type} [Add α] [Sub α] [Mul α] [Div α] [Neg α] [O
   let t39 := (t32 * t37)
   let t40 := (t35 * t34)
   let t41 := (t35 * t37)
-  let t654 := ((-a.y) * ((1 : α) / (2 : α)))
-  let t655 := (cos t654)
-  let t656 := (sin t654)
-  ⟨((t655 * t38) + (t656 * t41)), ⟨((t655 * t39) - (t656 * t40)), (((t655 * t41) + (t656 * t38)) * (-(1 : α))), ((t655 * t40) - (t656 * t39))⟩⟩
+  let t649 := ((-a.y) * ((1 : α) / (2 : α)))
+  let t650 := (cos t649)
+  let t651 := (sin t649)
+  ⟨((t650 * t38) + (t651 * t41)), ⟨((t650 * t39) - (t651 * t40)), (((t650 * t41) + (t651 * t38)) * (-(1 : α))), ((t650 * t40) - (t651 * t39))⟩⟩
 
 /-- extracted from the C++ template at T = Sym; 1 path(s) -/
 def Euler.extractM33_ZYX {α : Type} [Add α] [Mul α] [Neg α] [OfNat α 0] [OfNat α 1] (sqrt : α → α) (sin : α → α) (cos : α → α) (atan2 : α → α → α) (m : M33 α) : (V3 α) :=
@@ -1965,36 +1434,22 @@ def Euler.extractM33_ZYX {α : Type} [Add α] [Mul α] [Neg α] [OfNat α 0] [Of
   let t68 := (sin (0 : α))
   let t70 := (t66 * t66)
   let t72 := (-t68)
-  let t73 := (t66 * t68)
   let t95 := ((0 : α) * t70)
-  let t2422 := ((0 : α) * t73)
-  let t2974 := (atan2 m.x10 m.x00)
-  let t2975 := (cos t2974)
-  let t2976 := (sin t2974)
-  let t2979 := (t2975 * t68)
-  let t2981 := (-t2976)
-  let t2983 := ((t2981 * t66) + (t2979 * t68))
-  let t2984 := (t2976 * t68)
-  let t2986 := ((t2975 * t66) + (t2984 * t68))
-  let t2989 := ((t2981 * t72) + (t2979 * t66))
-  let t2992 := ((t2975 * t72) + (t2984 * t66))
-  let t3004 := ((0 : α) * t2986)
-  let t3007 := ((((1 : α) * t2983) + t3004) + t2422)
-  let t3009 := ((0 : α) * t2983)
-  let t3011 := ((t3009 + ((1 : α) * t2986)) + t2422)
-  let t3012 := (t3009 + t3004)
-  let t3013 := (t3012 + ((1 : α) * t73))
-  let t3015 := ((0 : α) * t2992)
-  let t3018 := ((((1 : α) * t2989) + t3015) + t95)
-  let t3020 := ((0 : α) * t2989)
-  let t3022 := ((t3020 + ((1 : α) * t2992)) + t95)
-  let t3023 := (t3020 + t3015)
-  let t3024 := (t3023 + ((1 : α) * t70))
-  let t3052 := ((t3012 + t2422) * (0 : α))
-  let t3078 := ((t3023 + t95) * (0 : α))
-  let t3090 := ((((t3018 * m.x01) + (t3022 * m.x11)) + (t3024 * m.x21)) + t3078)
-  let t3096 := ((((t3018 * m.x02) + (t3022 * m.x12)) + (t3024 * m.x22)) + t3078)
-  ⟨(t2974 * (-(1 : α))), ((atan2 (-((((t3018 * m.x00) + (t3022 * m.x10)) + (t3024 * m.x20)) + t3078)) (sqrt ((t3096 * t3096) + (t3090 * t3090)))) * (-(1 : α))), ((atan2 (-((((t3007 * m.x02) + (t3011 * m.x12)) + (t3013 * m.x22)) + t3052)) ((((t3007 * m.x01) + (t3011 * m.x11)) + (t3013 * m.x21)) + t3052)) * (-(1 : α)))⟩
+  let t2941 := (atan2 m.x10 m.x00)
+  let t2942 := (cos t2941)
+  let t2943 := (sin t2941)
+  let t2956 := (((-t2943) * t72) + ((t2942 * t68) * t66))
+  let t2959 := ((t2942 * t72) + ((t2943 * t68) * t66))
+  let t2982 := ((0 : α) * t2959)
+  let t2985 := ((((1 : α) * t2956) + t2982) + t95)
+  let t2987 := ((0 : α) * t2956)
+  let t2989 := ((t2987 + ((1 : α) * t2959)) + t95)
+  let t2990 := (t2987 + t2982)
+  let t2991 := (t2990 + ((1 : α) * t70))
+  let t3045 := ((t2990 + t95) * (0 : α))
+  let t3057 := ((((t2985 * m.x01) + (t2989 * m.x11)) + (t2991 * m.x21)) + t3045)
+  let t3063 := ((((t2985 * m.x02) + (t2989 * m.x12)) + (t2991 * m.x22)) + t3045)
+  ⟨(t2941 * (-(1 : α))), ((atan2 (-((((t2985 * m.x00) + (t2989 * m.x10)) + (t2991 * m.x20)) + t3045)) (sqrt ((t3063 * t3063) + (t3057 * t3057)))) * (-(1 : α))), ((atan2 m.x21 m.x22) * (-(1 : α)))⟩
 
 /-- extracted from the C++ template at T = Sym; 1 path(s) -/
 def Euler.extractM44_ZYX {α : Type} [Add α] [Mul α] [Neg α] [OfNat α 0] [OfNat α 1] (sqrt : α → α) (sin : α → α) (cos : α → α) (atan2 : α → α → α) (m : M44 α) : (V3 α) :=
@@ -2002,36 +1457,22 @@ def Euler.extractM44_ZYX {α : Type} [Add α] [Mul α] [Neg α] [OfNat α 0] [Of
   let t68 := (sin (0 : α))
   let t70 := (t66 * t66)
   let t72 := (-t68)
-  let t73 := (t66 * t68)
   let t95 := ((0 : α) * t70)
-  let t2422 := ((0 : α) * t73)
-  let t2974 := (atan2 m.x10 m.x00)
-  let t2975 := (cos t2974)
-  let t2976 := (sin t2974)
-  let t2979 := (t2975 * t68)
-  let t2981 := (-t2976)
-  let t2983 := ((t2981 * t66) + (t2979 * t68))
-  let t2984 := (t2976 * t68)
-  let t2986 := ((t2975 * t66) + (t2984 * t68))
-  let t2989 := ((t2981 * t72) + (t2979 * t66))
-  let t2992 := ((t2975 * t72) + (t2984 * t66))
-  let t3004 := ((0 : α) * t2986)
-  let t3007 := ((((1 : α) * t2983) + t3004) + t2422)
-  let t3009 := ((0 : α) * t2983)
-  let t3011 := ((t3009 + ((1 : α) * t2986)) + t2422)
-  let t3012 := (t3009 + t3004)
-  let t3013 := (t3012 + ((1 : α) * t73))
-  let t3014 := (t3012 + t2422)
-  let t3015 := ((0 : α) * t2992)
-  let t3018 := ((((1 : α) * t2989) + t3015) + t95)
-  let t3020 := ((0 : α) * t2989)
-  let t3022 := ((t3020 + ((1 : α) * t2992)) + t95)
-  let t3023 := (t3020 + t3015)
-  let t3024 := (t3023 + ((1 : α) * t70))
-  let t3025 := (t3023 + t95)
-  let t3144 := ((((t3018 * m.x01) + (t3022 * m.x11)) + (t3024 * m.x21)) + (t3025 * m.x31))
-  let t3146 := ((((t3018 * m.x02) + (t3022 * m.x12)) + (t3024 * m.x22)) + (t3025 * m.x32))
-  ⟨(t2974 * (-(1 : α))), ((atan2 (-((((t3018 * m.x00) + (t3022 * m.x10)) + (t3024 * m.x20)) + (t3025 * m.x30))) (sqrt ((t3146 * t3146) + (t3144 * t3144)))) * (-(1 : α))), ((atan2 (-((((t3007 * m.x02) + (t3011 * m.x12)) + (t3013 * m.x22)) + (t3014 * m.x32))) ((((t3007 * m.x01) + (t3011 * m.x11)) + (t3013 * m.x21)) + (t3014 * m.x31))) * (-(1 : α)))⟩
+  let t2941 := (atan2 m.x10 m.x00)
+  let t2942 := (cos t2941)
+  let t2943 := (sin t2941)
+  let t2956 := (((-t2943) * t72) + ((t2942 * t68) * t66))
+  let t2959 := ((t2942 * t72) + ((t2943 * t68) * t66))
+  let t2982 := ((0 : α) * t2959)
+  let t2985 := ((((1 : α) * t2956) + t2982) + t95)
+  let t2987 := ((0 : α) * t2956)
+  let t2989 := ((t2987 + ((1 : α) * t2959)) + t95)
+  let t2990 := (t2987 + t2982)
+  let t2991 := (t2990 + ((1 : α) * t70))
+  let t2992 := (t2990 + t95)
+  let t3110 := ((((t2985 * m.x01) + (t2989 * m.x11)) + (t2991 * m.x21)) + (t2992 * m.x31))
+  let t3112 := ((((t2985 * m.x02) + (t2989 * m.x12)) + (t2991 * m.x22)) + (t2992 * m.x32))
+  ⟨(t2941 * (-(1 : α))), ((atan2 (-((((t2985 * m.x00) + (t2989 * m.x10)) + (t2991 * m.x20)) + (t2992 * m.x30))) (sqrt ((t3112 * t3112) + (t3110 * t3110)))) * (-(1 : α))), ((atan2 m.x21 m.x22) * (-(1 : α)))⟩
 
 /-- extracted from the C++ template at T = Sym; 1 path(s) -/
 def Euler.ctorM33_ZYX {α : Type} [Add α] [Mul α] [Neg α] [OfNat α 0] [OfNat α 1] (sqrt : α → α) (sin : α → α) (cos : α → α) (atan2 : α → α → α) (m : M33 α) : ((V3 α) × Int) :=
@@ -2039,36 +1480,22 @@ def Euler.ctorM33_ZYX {α : Type} [Add α] [Mul α] [Neg α] [OfNat α 0] [OfNat
   let t68 := (sin (0 : α))
   let t70 := (t66 * t66)
   let t72 := (-t68)
-  let t73 := (t66 * t68)
   let t95 := ((0 : α) * t70)
-  let t2422 := ((0 : α) * t73)
-  let t2974 := (atan2 m.x10 m.x00)
-  let t2975 := (cos t2974)
-  let t2976 := (sin t2974)
-  let t2979 := (t2975 * t68)
-  let t2981 := (-t2976)
-  let t2983 := ((t2981 * t66) + (t2979 * t68))
-  let t2984 := (t2976 * t68)
-  let t2986 := ((t2975 * t66) + (t2984 * t68))
-  let t2989 := ((t2981 * t72) + (t2979 * t66))
-  let t2992 := ((t2975 * t72) + (t2984 * t66))
-  let t3004 := ((0 : α) * t2986)
-  let t3007 := ((((1 : α) * t2983) + t3004) + t2422)
-  let t3009 := ((0 : α) * t2983)
-  let t3011 := ((t3009 + ((1 : α) * t2986)) + t2422)
-  let t3012 := (t3009 + t3004)
-  let t3013 := (t3012 + ((1 : α) * t73))
-  let t3015 := ((0 : α) * t2992)
-  let t3018 := ((((1 : α) * t2989) + t3015) + t95)
-  let t3020 := ((0 : α) * t2989)
-  let t3022 := ((t3020 + ((1 : α) * t2992)) + t95)
-  let t3023 := (t3020 + t3015)
-  let t3024 := (t3023 + ((1 : α) * t70))
-  let t3052 := ((t3012 + t2422) * (0 : α))
-  let t3078 := ((t3023 + t95) * (0 : α))
-  let t3090 := ((((t3018 * m.x01) + (t3022 * m.x11)) + (t3024 * m.x21)) + t3078)
-  let t3096 := ((((t3018 * m.x02) + (t3022 * m.x12)) + (t3024 * m.x22)) + t3078)
-  (⟨(t2974 * (-(1 : α))), ((atan2 (-((((t3018 * m.x00) + (t3022 * m.x10)) + (t3024 * m.x20)) + t3078)) (sqrt ((t3096 * t3096) + (t3090 * t3090)))) * (-(1 : α))), ((atan2 (-((((t3007 * m.x02) + (t3011 * m.x12)) + (t3013 * m.x22)) + t3052)) ((((t3007 * m.x01) + (t3011 * m.x11)) + (t3013 * m.x21)) + t3052)) * (-(1 : α)))⟩, (8193 : Int))
+  let t2941 := (atan2 m.x10 m.x00)
+  let t2942 := (cos t2941)
+  let t2943 := (sin t2941)
+  let t2956 := (((-t2943) * t72) + ((t2942 * t68) * t66))
+  let t2959 := ((t2942 * t72) + ((t2943 * t68) * t66))
+  let t2982 := ((0 : α) * t2959)
+  let t2985 := ((((1 : α) * t2956) + t2982) + t95)
+  let t2987 := ((0 : α) * t2956)
+  let t2989 := ((t2987 + ((1 : α) * t2959)) + t95)
+  let t2990 := (t2987 + t2982)
+  let t2991 := (t2990 + ((1 : α) * t70))
+  let t3045 := ((t2990 + t95) * (0 : α))
+  let t3057 := ((((t2985 * m.x01) + (t2989 * m.x11)) + (t2991 * m.x21)) + t3045)
+  let t3063 := ((((t2985 * m.x02) + (t2989 * m.x12)) + (t2991 * m.x22)) + t3045)
+  (⟨(t2941 * (-(1 : α))), ((atan2 (-((((t2985 * m.x00) + (t2989 * m.x10)) + (t2991 * m.x20)) + t3045)) (sqrt ((t3063 * t3063) + (t3057 * t3057)))) * (-(1 : α))), ((atan2 m.x21 m.x22) * (-(1 : α)))⟩, (8193 : Int))
 
 /-- extracted from the C++ template at T = Sym; 1 path(s) -/
 def Euler.ctorM44_ZYX {α : Type} [Add α] [Mul α] [Neg α] [OfNat α 0] [OfNat α 1] (sqrt : α → α) (sin : α → α) (cos : α → α) (atan2 : α → α → α) (m : M44 α) : ((V3 α) × Int) :=
@@ -2076,36 +1503,22 @@ def Euler.ctorM44_ZYX {α : Type} [Add α] [Mul α] [Neg α] [OfNat α 0] [OfNat
   let t68 := (sin (0 : α))
   let t70 := (t66 * t66)
   let t72 := (-t68)
-  let t73 := (t66 * t68)
   let t95 := ((0 : α) * t70)
-  let t2422 := ((0 : α) * t73)
-  let t2974 := (atan2 m.x10 m.x00)
-  let t2975 := (cos t2974)
-  let t2976 := (sin t2974)
-  let t2979 := (t2975 * t68)
-  let t2981 := (-t2976)
-  let t2983 := ((t2981 * t66) + (t2979 * t68))
-  let t2984 := (t2976 * t68)
-  let t2986 := ((t2975 * t66) + (t2984 * t68))
-  let t2989 := ((t2981 * t72) + (t2979 * t66))
-  let t2992 := ((t2975 * t72) + (t2984 * t66))
-  let t3004 := ((0 : α) * t2986)
-  let t3007 := ((((1 : α) * t2983) + t3004) + t2422)
-  let t3009 := ((0 : α) * t2983)
-  let t3011 := ((t3009 + ((1 : α) * t2986)) + t2422)
-  let t3012 := (t3009 + t3004)
-  let t3013 := (t3012 + ((1 : α) * t73))
-  let t3014 := (t3012 + t2422)
-  let t3015 := ((0 : α) * t2992)
-  let t3018 := ((((1 : α) * t2989) + t3015) + t95)
-  let t3020 := ((0 : α) * t2989)
-  let t3022 := ((t3020 + ((1 : α) * t2992)) + t95)
-  let t3023 := (t3020 + t3015)
-  let t3024 := (t3023 + ((1 : α) * t70))
-  let t3025 := (t3023 + t95)
-  let t3144 := ((((t3018 * m.x01) + (t3022 * m.x11)) + (t3024 * m.x21)) + (t3025 * m.x31))
-  let t3146 := ((((t3018 * m.x02) + (t3022 * m.x12)) + (t3024 * m.x22)) + (t3025 * m.x32))
-  (⟨(t2974 * (-(1 : α))), ((atan2 (-((((t3018 * m.x00) + (t3022 * m.x10)) + (t3024 * m.x20)) + (t3025 * m.x30))) (sqrt ((t3146 * t3146) + (t3144 * t3144)))) * (-(1 : α))), ((atan2 (-((((t3007 * m.x02) + (t3011 * m.x12)) + (t3013 * m.x22)) + (t3014 * m.x32))) ((((t3007 * m.x01) + (t3011 * m.x11)) + (t3013 * m.x21)) + (t3014 * m.x31))) * (-(1 : α)))⟩, (8193 : Int))
+  let t2941 := (atan2 m.x10 m.x00)
+  let t2942 := (cos t2941)
+  let t2943 := (sin t2941)
+  let t2956 := (((-t2943) * t72) + ((t2942 * t68) * t66))
+  let t2959 := ((t2942 * t72) + ((t2943 * t68) * t66))
+  let t2982 := ((0 : α) * t2959)
+  let t2985 := ((((1 : α) * t2956) + t2982) + t95)
+  let t2987 := ((0 : α) * t2956)
+  let t2989 := ((t2987 + ((1 : α) * t2959)) + t95)
+  let t2990 := (t2987 + t2982)
+  let t2991 := (t2990 + ((1 : α) * t70))
+  let t2992 := (t2990 + t95)
+  let t3110 := ((((t2985 * m.x01) + (t2989 * m.x11)) + (t2991 * m.x21)) + (t2992 * m.x31))
+  let t3112 := ((((t2985 * m.x02) + (t2989 * m.x12)) + (t2991 * m.x22)) + (t2992 * m.x32))
+  (⟨(t2941 * (-(1 : α))), ((atan2 (-((((t2985 * m.x00) + (t2989 * m.x10)) + (t2991 * m.x20)) + (t2992 * m.x30))) (sqrt ((t3112 * t3112) + (t3110 * t3110)))) * (-(1 : α))), ((atan2 m.x21 m.x22) * (-(1 : α)))⟩, (8193 : Int))
 
 /-- extracted from the C++ template at T = Sym; 1 path(s) -/
 def Euler.extractQuat_ZYX {α : Type} [Add α] [Sub α] [Mul α] [Neg α] [OfNat α 0] [OfNat α 1] [OfNat α 2] (sqrt : α → α) (sin : α → α) (cos : α → α) (atan2 : α → α → α) (q : Quat α) : (V3 α) :=
@@ -2113,53 +1526,35 @@ def Euler.extractQuat_ZYX {α : Type} [Add α] [Sub α] [Mul α] [Neg α] [OfNat
   let t68 := (sin (0 : α))
   let t70 := (t66 * t66)
   let t72 := (-t68)
-  let t73 := (t66 * t68)
   let t95 := ((0 : α) * t70)
-  let t309 := (q.v.x * q.v.x)
-  let t310 := (q.v.y * q.v.y)
-  let t314 := ((1 : α) - ((2 : α) * (t310 + t309)))
-  let t315 := (q.v.x * q.r)
-  let t316 := (q.v.y * q.v.z)
-  let t318 := ((2 : α) * (t316 - t315))
-  let t319 := (q.v.y * q.r)
-  let t320 := (q.v.z * q.v.x)
-  let t324 := ((2 : α) * (t316 + t315))
-  let t325 := (q.v.z * q.v.z)
-  let t328 := ((1 : α) - ((2 : α) * (t325 + t309)))
-  let t329 := (q.v.z * q.r)
-  let t330 := (q.v.x * q.v.y)
-  let t332 := ((2 : α) * (t330 - t329))
-  let t334 := ((2 : α) * (t320 - t319))
-  let t336 := ((2 : α) * (t330 + t329))
-  let t339 := ((1 : α) - ((2 : α) * (t310 + t325)))
-  let t2422 := ((0 : α) * t73)
-  let t3164 := (atan2 t332 t339)
-  let t3165 := (cos t3164)
-  let t3166 := (sin t3164)
-  let t3169 := (t3165 * t68)
-  let t3171 := (-t3166)
-  let t3173 := ((t3171 * t66) + (t3169 * t68))
-  let t3174 := (t3166 * t68)
-  let t3176 := ((t3165 * t66) + (t3174 * t68))
-  let t3179 := ((t3171 * t72) + (t3169 * t66))
-  let t3182 := ((t3165 * t72) + (t3174 * t66))
-  let t3194 := ((0 : α) * t3176)
-  let t3197 := ((((1 : α) * t3173) + t3194) + t2422)
-  let t3199 := ((0 : α) * t3173)
-  let t3201 := ((t3199 + ((1 : α) * t3176)) + t2422)
-  let t3202 := (t3199 + t3194)
-  let t3203 := (t3202 + ((1 : α) * t73))
-  let t3205 := ((0 : α) * t3182)
-  let t3208 := ((((1 : α) * t3179) + t3205) + t95)
-  let t3210 := ((0 : α) * t3179)
-  let t3212 := ((t3210 + ((1 : α) * t3182)) + t95)
-  let t3213 := (t3210 + t3205)
-  let t3214 := (t3213 + ((1 : α) * t70))
-  let t3242 := ((t3202 + t2422) * (0 : α))
-  let t3268 := ((t3213 + t95) * (0 : α))
-  let t3280 := ((((t3208 * t336) + (t3212 * t328)) + (t3214 * t318)) + t3268)
-  let t3286 := ((((t3208 * t334) + (t3212 * t324)) + (t3214 * t314)) + t3268)
-  ⟨(t3164 * (-(1 : α))), ((atan2 (-((((t3208 * t339) + (t3212 * t332)) + (t3214 * ((2 : α) * (t320 + t319)))) + t3268)) (sqrt ((t3286 * t3286) + (t3280 * t3280)))) * (-(1 : α))), ((atan2 (-((((t3197 * t334) + (t3201 * t324)) + (t3203 * t314)) + t3242)) ((((t3197 * t336) + (t3201 * t328)) + (t3203 * t318)) + t3242)) * (-(1 : α)))⟩
+  let t306 := (q.v.x * q.v.x)
+  let t307 := (q.v.y * q.v.y)
+  let t311 := ((1 : α) - ((2 : α) * (t307 + t306)))
+  let t312 := (q.v.x * q.r)
+  let t313 := (q.v.y * q.v.z)
+  let t315 := ((2 : α) * (t313 - t312))
+  let t316 := (q.v.y * q.r)
+  let t317 := (q.v.z * q.v.x)
+  let t322 := (q.v.z * q.v.z)
+  let t326 := (q.v.z * q.r)
+  let t327 := (q.v.x * q.v.y)
+  let t329 := ((2 : α) * (t327 - t326))
+  let t336 := ((1 : α) - ((2 : α) * (t307 + t322)))
+  let t3127 := (atan2 t329 t336)
+  let t3128 := (cos t3127)
+  let t3129 := (sin t3127)
+  let t3142 := (((-t3129) * t72) + ((t3128 * t68) * t66))
+  let t3145 := ((t3128 * t72) + ((t3129 * t68) * t66))
+  let t3168 := ((0 : α) * t3145)
+  let t3171 := ((((1 : α) * t3142) + t3168) + t95)
+  let t3173 := ((0 : α) * t3142)
+  let t3175 := ((t3173 + ((1 : α) * t3145)) + t95)
+  let t3176 := (t3173 + t3168)
+  let t3177 := (t3176 + ((1 : α) * t70))
+  let t3231 := ((t3176 + t95) * (0 : α))
+  let t3243 := ((((t3171 * ((2 : α) * (t327 + t326))) + (t3175 * ((1 : α) - ((2 : α) * (t322 + t306))))) + (t3177 * t315)) + t3231)
+  let t3249 := ((((t3171 * ((2 : α) * (t317 - t316))) + (t3175 * ((2 : α) * (t313 + t312)))) + (t3177 * t311)) + t3231)
+  ⟨(t3127 * (-(1 : α))), ((atan2 (-((((t3171 * t336) + (t3175 * t329)) + (t3177 * ((2 : α) * (t317 + t316)))) + t3231)) (sqrt ((t3249 * t3249) + (t3243 * t3243)))) * (-(1 : α))), ((atan2 t315 t311) * (-(1 : α)))⟩
 
 /-- extracted from the C++ template at T = Sym; 1 path(s) -/
 def Euler.ctorXYZLayout_ZYX {α : Type} (v : V3 α) : ((V3 α) × Int) :=
@@ -2215,46 +1610,28 @@ def Euler.reorderFromXYZ_ZYX {α : Type} [Add α] [Sub α] [Mul α] [Neg α] [Of
   let t13 := (t7 * t9)
   let t15 := (t5 * t6)
   let t17 := ((t8 * t12) - t11)
-  let t20 := (t5 * t9)
-  let t22 := ((t8 * t13) + t10)
   let t24 := ((t8 * t11) - t12)
-  let t25 := (-t8)
-  let t26 := (t5 * t7)
   let t27 := (t5 * t4)
   let t66 := (cos (0 : α))
   let t68 := (sin (0 : α))
   let t70 := (t66 * t66)
   let t72 := (-t68)
-  let t73 := (t66 * t68)
   let t95 := ((0 : α) * t70)
-  let t2422 := ((0 : α) * t73)
-  let t3305 := (atan2 t17 t15)
-  let t3306 := (cos t3305)
-  let t3307 := (sin t3305)
-  let t3310 := (t3306 * t68)
-  let t3312 := (-t3307)
-  let t3314 := ((t3312 * t66) + (t3310 * t68))
-  let t3315 := (t3307 * t68)
-  let t3317 := ((t3306 * t66) + (t3315 * t68))
-  let t3320 := ((t3312 * t72) + (t3310 * t66))
-  let t3323 := ((t3306 * t72) + (t3315 * t66))
-  let t3335 := ((0 : α) * t3317)
-  let t3338 := ((((1 : α) * t3314) + t3335) + t2422)
-  let t3340 := ((0 : α) * t3314)
-  let t3342 := ((t3340 + ((1 : α) * t3317)) + t2422)
-  let t3343 := (t3340 + t3335)
-  let t3344 := (t3343 + ((1 : α) * t73))
-  let t3346 := ((0 : α) * t3323)
-  let t3349 := ((((1 : α) * t3320) + t3346) + t95)
-  let t3351 := ((0 : α) * t3320)
-  let t3353 := ((t3351 + ((1 : α) * t3323)) + t95)
-  let t3354 := (t3351 + t3346)
-  let t3355 := (t3354 + ((1 : α) * t70))
-  let t3383 := ((t3343 + t2422) * (0 : α))
-  let t3409 := ((t3354 + t95) * (0 : α))
-  let t3421 := ((((t3349 * t20) + (t3353 * t22)) + (t3355 * t24)) + t3409)
-  let t3427 := ((((t3349 * t25) + (t3353 * t26)) + (t3355 * t27)) + t3409)
-  (⟨(t3305 * (-(1 : α))), ((atan2 (-((((t3349 * t15) + (t3353 * t17)) + (t3355 * ((t8 * t10) + t13))) + t3409)) (sqrt ((t3427 * t3427) + (t3421 * t3421)))) * (-(1 : α))), ((atan2 (-((((t3338 * t25) + (t3342 * t26)) + (t3344 * t27)) + t3383)) ((((t3338 * t20) + (t3342 * t22)) + (t3344 * t24)) + t3383)) * (-(1 : α)))⟩, (8193 : Int))
+  let t3267 := (atan2 t17 t15)
+  let t3268 := (cos t3267)
+  let t3269 := (sin t3267)
+  let t3282 := (((-t3269) * t72) + ((t3268 * t68) * t66))
+  let t3285 := ((t3268 * t72) + ((t3269 * t68) * t66))
+  let t3308 := ((0 : α) * t3285)
+  let t3311 := ((((1 : α) * t3282) + t3308) + t95)
+  let t3313 := ((0 : α) * t3282)
+  let t3315 := ((t3313 + ((1 : α) * t3285)) + t95)
+  let t3316 := (t3313 + t3308)
+  let t3317 := (t3316 + ((1 : α) * t70))
+  let t3371 := ((t3316 + t95) * (0 : α))
+  let t3383 := ((((t3311 * (t5 * t9)) + (t3315 * ((t8 * t13) + t10))) + (t3317 * t24)) + t3371)
+  let t3389 := ((((t3311 * (-t8)) + (t3315 * (t5 * t7))) + (t3317 * t27)) + t3371)
+  (⟨(t3267 * (-(1 : α))), ((atan2 (-((((t3311 * t15) + (t3315 * t17)) + (t3317 * ((t8 * t10) + t13))) + t3371)) (sqrt ((t3389 * t3389) + (t3383 * t3383)))) * (-(1 : α))), ((atan2 t24 t27) * (-(1 : α)))⟩, (8193 : Int))
 
 /-- extracted from the C++ template at T = Sym; 1 path(s) -/
 def Euler.reorderToZYXr_ZYX {α : Type} [Add α] [Sub α] [Mul α] [Neg α] [OfNat α 0] [OfNat α 1] (sqrt : α → α) (sin : α → α) (cos : α → α) (atan2 : α → α → α) (a : V3 α) : ((V3 α) × Int) :=
@@ -2271,81 +1648,62 @@ def Euler.reorderToZYXr_ZYX {α : Type} [Add α] [Sub α] [Mul α] [Neg α] [OfN
   let t99 := (t95 + t90)
   let t100 := (t99 + ((1 : α) * t72))
   let t128 := ((t99 + t89) * (0 : α))
-  let t627 := (a.x * (-(1 : α)))
-  let t628 := (a.y * (-(1 : α)))
-  let t629 := (a.z * (-(1 : α)))
-  let t630 := (cos t627)
-  let t631 := (cos t628)
-  let t632 := (cos t629)
-  let t633 := (sin t627)
-  let t634 := (sin t628)
-  let t635 := (sin t629)
-  let t636 := (t630 * t632)
-  let t637 := (t630 * t635)
-  let t638 := (t633 * t632)
-  let t639 := (t633 * t635)
-  let t640 := (t631 * t632)
-  let t642 := ((t634 * t638) - t637)
-  let t645 := (t631 * t635)
-  let t647 := ((t634 * t639) + t636)
-  let t649 := ((t634 * t637) - t638)
-  let t650 := (-t634)
-  let t651 := (t631 * t633)
-  let t652 := (t631 * t630)
-  let t3446 := (atan2 t642 t640)
-  let t3447 := (-t3446)
-  let t3448 := (cos t3447)
-  let t3449 := (sin t3447)
-  let t3452 := ((t72 * t3448) + ((t66 * t68) * t3449))
-  let t3455 := ((t66 * t3448) + ((t68 * t68) * t3449))
-  let t3456 := (t66 * t3449)
-  let t3464 := ((0 : α) * t3456)
-  let t3465 := ((0 : α) * t3455)
-  let t3468 := ((((1 : α) * t3452) + t3465) + t3464)
-  let t3470 := ((0 : α) * t3452)
-  let t3472 := ((t3470 + ((1 : α) * t3455)) + t3464)
-  let t3474 := (t3470 + t3465)
-  let t3475 := (t3474 + ((1 : α) * t3456))
-  let t3495 := ((((t93 * t652) + (t97 * t651)) + (t100 * t650)) + t128)
-  let t3501 := ((((t93 * t649) + (t97 * t647)) + (t100 * t645)) + t128)
-  let t3508 := ((t3474 + t3464) * (0 : α))
-  (⟨(atan2 (-((((t3468 * t652) + (t3472 * t651)) + (t3475 * t650)) + t3508)) ((((t3468 * t649) + (t3472 * t647)) + (t3475 * t645)) + t3508)), (atan2 (-((((t93 * ((t634 * t636) + t639)) + (t97 * t642)) + (t100 * t640)) + t128)) (sqrt ((t3495 * t3495) + (t3501 * t3501)))), t3446⟩, (256 : Int))
+  let t622 := (a.x * (-(1 : α)))
+  let t623 := (a.y * (-(1 : α)))
+  let t624 := (a.z * (-(1 : α)))
+  let t625 := (cos t622)
+  let t626 := (cos t623)
+  let t627 := (cos t624)
+  let t628 := (sin t622)
+  let t629 := (sin t623)
+  let t630 := (sin t624)
+  let t631 := (t625 * t627)
+  let t632 := (t625 * t630)
+  let t633 := (t628 * t627)
+  let t634 := (t628 * t630)
+  let t635 := (t626 * t627)
+  let t637 := ((t629 * t633) - t632)
+  let t644 := ((t629 * t632) - t633)
+  let t647 := (t626 * t625)
+  let t3456 := ((((t93 * t647) + (t97 * (t626 * t628))) + (t100 * (-t629))) + t128)
+  let t3462 := ((((t93 * t644) + (t97 * ((t629 * t634) + t631))) + (t100 * (t626 * t630))) + t128)
+  (⟨(atan2 t644 t647), (atan2 (-((((t93 * ((t629 * t631) + t634)) + (t97 * t637)) + (t100 * t635)) + t128)) (sqrt ((t3456 * t3456) + (t3462 * t3462)))), (atan2 t637 t635)⟩, (256 : Int))
 
 /-- extracted from the C++ template at T = Sym; 1 path(s) -/
 def Euler.toMatrix33_XZX {α : Type} [Add α] [Sub α] [Mul α] [Neg α] [OfNat α 1] (sin : α → α) (cos : α → α) (a : V3 α) : (M33 α) :=
-  let t627 := (a.x * (-(1 : α)))
-  let t628 := (a.y * (-(1 : α)))
-  let t629 := (a.z * (-(1 : α)))
-  let t630 := (cos t627)
-  let t631 := (cos t628)
-  let t632 := (cos t629)
-  let t633 := (sin t627)
-  let t634 := (sin t628)
-  let t635 := (sin t629)
-  let t636 := (t630 * t632)
-  let t637 := (t630 * t635)
-  let t638 := (t633 * t632)
-  let t639 := (t633 * t635)
-  let t3580 := (-t631)
-  ⟨t631, ((-t634) * t632), (t634 * t635), (t634 * t630), ((t631 * t636) - t639), ((t3580 * t637) - t638), (t634 * t633), ((t631 * t638) + t637), ((t3580 * t639) + t636)⟩
+  let t622 := (a.x * (-(1 : α)))
+  let t623 := (a.y * (-(1 : α)))
+  let t624 := (a.z * (-(1 : α)))
+  let t625 := (cos t622)
+  let t626 := (cos t623)
+  let t627 := (cos t624)
+  let t628 := (sin t622)
+  let t629 := (sin t623)
+  let t630 := (sin t624)
+  let t631 := (t625 * t627)
+  let t632 := (t625 * t630)
+  let t633 := (t628 * t627)
+  let t634 := (t628 * t630)
+  let t3540 := (-t626)
+  ⟨t626, ((-t629) * t627), (t629 * t630), (t629 * t625), ((t626 * t631) - t634), ((t3540 * t632) - t633), (t629 * t628), ((t626 * t633) + t632), ((t3540 * t634) + t631)⟩
 
 /-- extracted from the C++ template at T = Sym; 1 path(s) -/
 def Euler.toMatrix44_XZX {α : Type} [Add α] [Sub α] [Mul α] [Neg α] [OfNat α 0] [OfNat α 1] (sin : α → α) (cos : α → α) (a : V3 α) : (M44 α) :=
-  let t627 := (a.x * (-(1 : α)))
-  let t628 := (a.y * (-(1 : α)))
-  let t629 := (a.z * (-(1 : α)))
-  let t630 := (cos t627)
-  let t631 := (cos t628)
-  let t632 := (cos t629)
-  let t633 := (sin t627)
-  let t634 := (sin t628)
-  let t635 := (sin t629)
-  let t636 := (t630 * t632)
-  let t637 := (t630 * t635)
-  let t638 := (t633 * t632)
-  let t639 := (t633 * t635)
-  let t3580 := (-t631)
-  ⟨t631, ((-t634) * t632), (t634 * t635), (0 : α), (t634 * t630), ((t631 * t636) - t639), ((t3580 * t637) - t638), (0 : α), (t634 * t633), ((t631 * t638) + t637), ((t3580 * t639) + t636), (0 : α), (0 : α), (0 : α), (0 : α), (1 : α)⟩
+  let t622 := (a.x * (-(1 : α)))
+  let t623 := (a.y * (-(1 : α)))
+  let t624 := (a.z * (-(1 : α)))
+  let t625 := (cos t622)
+  let t626 := (cos t623)
+  let t627 := (cos t624)
+  let t628 := (sin t622)
+  let t629 := (sin t623)
+  let t630 := (sin t624)
+  let t631 := (t625 * t627)
+  let t632 := (t625 * t630)
+  let t633 := (t628 * t627)
+  let t634 := (t628 * t630)
+  let t3540 := (-t626)
+  ⟨t626, ((-t629) * t627), (t629 * t630), (0 : α), (t629 * t625), ((t626 * t631) - t634), ((t3540 * t632) - t633), (0 : α), (t629 * t628), ((t626 * t633) + t632), ((t3540 * t634) + t631), (0 : α), (0 : α), (0 : α), (0 : α), (1 : α)⟩
 
 /-- extracted from the C++ template at T = Sym; 1 path(s) -/
 def Euler.toQuat_XZX {α : Type} [Add α] [Sub α] [Mul α] [Div α] [Neg α] [OfNat α 1] [OfNat α 2] (sin : α → α) (cos : α → α) (a : V3 α) : (Quat α) :=
@@ -2359,10 +1717,10 @@ def Euler.toQuat_XZX {α : Type} [Add α] [Sub α] [Mul α] [Div α] [Neg α] [O
   let t39 := (t32 * t37)
   let t40 := (t35 * t34)
   let t41 := (t35 * t37)
-  let t654 := ((-a.y) * ((1 : α) / (2 : α)))
-  let t655 := (cos t654)
-  let t656 := (sin t654)
-  ⟨(t655 * (t38 - t41)), ⟨(t655 * (t39 + t40)), (t656 * (t39 - t40)), ((t656 * (t38 + t41)) * (-(1 : α)))⟩⟩
+  let t649 := ((-a.y) * ((1 : α) / (2 : α)))
+  let t650 := (cos t649)
+  let t651 := (sin t649)
+  ⟨(t650 * (t38 - t41)), ⟨(t650 * (t39 + t40)), (t651 * (t39 - t40)), ((t651 * (t38 + t41)) * (-(1 : α)))⟩⟩
 
 /-- extracted from the C++ template at T = Sym; 1 path(s) -/
 def Euler.extractM33_XZX {α : Type} [Add α] [Mul α] [Neg α] [OfNat α 0] [OfNat α 1] (sqrt : α → α) (sin : α → α) (cos : α → α) (atan2 : α → α → α) (m : M33 α) : (V3 α) :=
@@ -2377,31 +1735,31 @@ def Euler.extractM33_XZX {α : Type} [Add α] [Mul α] [Neg α] [OfNat α 0] [Of
   let t90 := ((0 : α) * t71)
   let t95 := ((0 : α) * t70)
   let t99 := (t95 + t90)
-  let t3599 := (atan2 m.x20 m.x10)
-  let t3600 := (cos t3599)
-  let t3601 := (sin t3599)
-  let t3604 := ((t72 * t3600) + (t73 * t3601))
-  let t3606 := (t66 * t3600)
-  let t3607 := (t3606 + (t77 * t3601))
-  let t3608 := (t66 * t3601)
-  let t3610 := (-t3601)
-  let t3612 := ((t72 * t3610) + (t73 * t3600))
-  let t3615 := ((t66 * t3610) + (t77 * t3600))
-  let t3616 := ((0 : α) * t3608)
-  let t3617 := ((0 : α) * t3607)
-  let t3622 := ((0 : α) * t3604)
-  let t3626 := (t3622 + t3617)
-  let t3629 := ((0 : α) * t3606)
-  let t3630 := ((0 : α) * t3615)
-  let t3633 := ((((1 : α) * t3612) + t3630) + t3629)
-  let t3635 := ((0 : α) * t3612)
-  let t3637 := ((t3635 + ((1 : α) * t3615)) + t3629)
-  let t3639 := (t3635 + t3630)
-  let t3640 := (t3639 + ((1 : α) * t3606))
-  let t3648 := ((((((((1 : α) * t3604) + t3617) + t3616) * m.x00) + (((t3622 + ((1 : α) * t3607)) + t3616) * m.x10)) + ((t3626 + ((1 : α) * t3608)) * m.x20)) + ((t3626 + t3616) * (0 : α)))
-  let t3668 := ((t3639 + t3629) * (0 : α))
-  let t3674 := ((((t3633 * m.x00) + (t3637 * m.x10)) + (t3640 * m.x20)) + t3668)
-  ⟨(t3599 * (-(1 : α))), ((atan2 (sqrt ((t3674 * t3674) + (t3648 * t3648))) ((((((((1 : α) * t70) + t90) + t89) * m.x00) + (((t95 + ((1 : α) * t71)) + t89) * m.x10)) + ((t99 + ((1 : α) * t72)) * m.x20)) + ((t99 + t89) * (0 : α)))) * (-(1 : α))), ((atan2 ((((t3633 * m.x01) + (t3637 * m.x11)) + (t3640 * m.x21)) + t3668) ((((t3633 * m.x02) + (t3637 * m.x12)) + (t3640 * m.x22)) + t3668)) * (-(1 : α)))⟩
+  let t3559 := (atan2 m.x20 m.x10)
+  let t3560 := (cos t3559)
+  let t3561 := (sin t3559)
+  let t3564 := ((t72 * t3560) + (t73 * t3561))
+  let t3566 := (t66 * t3560)
+  let t3567 := (t3566 + (t77 * t3561))
+  let t3568 := (t66 * t3561)
+  let t3570 := (-t3561)
+  let t3572 := ((t72 * t3570) + (t73 * t3560))
+  let t3575 := ((t66 * t3570) + (t77 * t3560))
+  let t3576 := ((0 : α) * t3568)
+  let t3577 := ((0 : α) * t3567)
+  let t3582 := ((0 : α) * t3564)
+  let t3586 := (t3582 + t3577)
+  let t3589 := ((0 : α) * t3566)
+  let t3590 := ((0 : α) * t3575)
+  let t3593 := ((((1 : α) * t3572) + t3590) + t3589)
+  let t3595 := ((0 : α) * t3572)
+  let t3597 := ((t3595 + ((1 : α) * t3575)) + t3589)
+  let t3599 := (t3595 + t3590)
+  let t3600 := (t3599 + ((1 : α) * t3566))
+  let t3608 := ((((((((1 : α) * t3564) + t3577) + t3576) * m.x00) + (((t3582 + ((1 : α) * t3567)) + t3576) * m.x10)) + ((t3586 + ((1 : α) * t3568)) * m.x20)) + ((t3586 + t3576) * (0 : α)))
+  let t3628 := ((t3599 + t3589) * (0 : α))
+  let t3634 := ((((t3593 * m.x00) + (t3597 * m.x10)) + (t3600 * m.x20)) + t3628)
+  ⟨(t3559 * (-(1 : α))), ((atan2 (sqrt ((t3634 * t3634) + (t3608 * t3608))) ((((((((1 : α) * t70) + t90) + t89) * m.x00) + (((t95 + ((1 : α) * t71)) + t89) * m.x10)) + ((t99 + ((1 : α) * t72)) * m.x20)) + ((t99 + t89) * (0 : α)))) * (-(1 : α))), ((atan2 ((((t3593 * m.x01) + (t3597 * m.x11)) + (t3600 * m.x21)) + t3628) ((((t3593 * m.x02) + (t3597 * m.x12)) + (t3600 * m.x22)) + t3628)) * (-(1 : α)))⟩
 
 /-- extracted from the C++ template at T = Sym; 1 path(s) -/
 def Euler.extractM44_XZX {α : Type} [Add α] [Mul α] [Neg α] [OfNat α 0] [OfNat α 1] (sqrt : α → α) (sin : α → α) (cos : α → α) (atan2 : α → α → α) (m : M44 α) : (V3 α) :=
@@ -2416,31 +1774,31 @@ def Euler.extractM44_XZX {α : Type} [Add α] [Mul α] [Neg α] [OfNat α 0] [Of
   let t90 := ((0 : α) * t71)
   let t95 := ((0 : α) * t70)
   let t99 := (t95 + t90)
-  let t3599 := (atan2 m.x20 m.x10)
-  let t3600 := (cos t3599)
-  let t3601 := (sin t3599)
-  let t3604 := ((t72 * t3600) + (t73 * t3601))
-  let t3606 := (t66 * t3600)
-  let t3607 := (t3606 + (t77 * t3601))
-  let t3608 := (t66 * t3601)
-  let t3610 := (-t3601)
-  let t3612 := ((t72 * t3610) + (t73 * t3600))
-  let t3615 := ((t66 * t3610) + (t77 * t3600))
-  let t3616 := ((0 : α) * t3608)
-  let t3617 := ((0 : α) * t3607)
-  let t3622 := ((0 : α) * t3604)
-  let t3626 := (t3622 + t3617)
-  let t3629 := ((0 : α) * t3606)
-  let t3630 := ((0 : α) * t3615)
-  let t3633 := ((((1 : α) * t3612) + t3630) + t3629)
-  let t3635 := ((0 : α) * t3612)
-  let t3637 := ((t3635 + ((1 : α) * t3615)) + t3629)
-  let t3639 := (t3635 + t3630)
-  let t3640 := (t3639 + ((1 : α) * t3606))
-  let t3641 := (t3639 + t3629)
-  let t3704 := ((((((((1 : α) * t3604) + t3617) + t3616) * m.x00) + (((t3622 + ((1 : α) * t3607)) + t3616) * m.x10)) + ((t3626 + ((1 : α) * t3608)) * m.x20)) + ((t3626 + t3616) * m.x30))
-  let t3717 := ((((t3633 * m.x00) + (t3637 * m.x10)) + (t3640 * m.x20)) + (t3641 * m.x30))
-  ⟨(t3599 * (-(1 : α))), ((atan2 (sqrt ((t3717 * t3717) + (t3704 * t3704))) ((((((((1 : α) * t70) + t90) + t89) * m.x00) + (((t95 + ((1 : α) * t71)) + t89) * m.x10)) + ((t99 + ((1 : α) * t72)) * m.x20)) + ((t99 + t89) * m.x30))) * (-(1 : α))), ((atan2 ((((t3633 * m.x01) + (t3637 * m.x11)) + (t3640 * m.x21)) + (t3641 * m.x31)) ((((t3633 * m.x02) + (t3637 * m.x12)) + (t3640 * m.x22)) + (t3641 * m.x32))) * (-(1 : α)))⟩
+  let t3559 := (atan2 m.x20 m.x10)
+  let t3560 := (cos t3559)
+  let t3561 := (sin t3559)
+  let t3564 := ((t72 * t3560) + (t73 * t3561))
+  let t3566 := (t66 * t3560)
+  let t3567 := (t3566 + (t77 * t3561))
+  let t3568 := (t66 * t3561)
+  let t3570 := (-t3561)
+  let t3572 := ((t72 * t3570) + (t73 * t3560))
+  let t3575 := ((t66 * t3570) + (t77 * t3560))
+  let t3576 := ((0 : α) * t3568)
+  let t3577 := ((0 : α) * t3567)
+  let t3582 := ((0 : α) * t3564)
+  let t3586 := (t3582 + t3577)
+  let t3589 := ((0 : α) * t3566)
+  let t3590 := ((0 : α) * t3575)
+  let t3593 := ((((1 : α) * t3572) + t3590) + t3589)
+  let t3595 := ((0 : α) * t3572)
+  let t3597 := ((t3595 + ((1 : α) * t3575)) + t3589)
+  let t3599 := (t3595 + t3590)
+  let t3600 := (t3599 + ((1 : α) * t3566))
+  let t3601 := (t3599 + t3589)
+  let t3664 := ((((((((1 : α) * t3564) + t3577) + t3576) * m.x00) + (((t3582 + ((1 : α) * t3567)) + t3576) * m.x10)) + ((t3586 + ((1 : α) * t3568)) * m.x20)) + ((t3586 + t3576) * m.x30))
+  let t3677 := ((((t3593 * m.x00) + (t3597 * m.x10)) + (t3600 * m.x20)) + (t3601 * m.x30))
+  ⟨(t3559 * (-(1 : α))), ((atan2 (sqrt ((t3677 * t3677) + (t3664 * t3664))) ((((((((1 : α) * t70) + t90) + t89) * m.x00) + (((t95 + ((1 : α) * t71)) + t89) * m.x10)) + ((t99 + ((1 : α) * t72)) * m.x20)) + ((t99 + t89) * m.x30))) * (-(1 : α))), ((atan2 ((((t3593 * m.x01) + (t3597 * m.x11)) + (t3600 * m.x21)) + (t3601 * m.x31)) ((((t3593 * m.x02) + (t3597 * m.x12)) + (t3600 * m.x22)) + (t3601 * m.x32))) * (-(1 : α)))⟩
 
 /-- extracted from the C++ template at T = Sym; 1 path(s) -/
 def Euler.ctorM33_XZX {α : Type} [Add α] [Mul α] [Neg α] [OfNat α 0] [OfNat α 1] (sqrt : α → α) (sin : α → α) (cos : α → α) (atan2 : α → α → α) (m : M33 α) : ((V3 α) × Int) :=
@@ -2455,31 +1813,31 @@ def Euler.ctorM33_XZX {α : Type} [Add α] [Mul α] [Neg α] [OfNat α 0] [OfNat
   let t90 := ((0 : α) * t71)
   let t95 := ((0 : α) * t70)
   let t99 := (t95 + t90)
-  let t3599 := (atan2 m.x20 m.x10)
-  let t3600 := (cos t3599)
-  let t3601 := (sin t3599)
-  let t3604 := ((t72 * t3600) + (t73 * t3601))
-  let t3606 := (t66 * t3600)
-  let t3607 := (t3606 + (t77 * t3601))
-  let t3608 := (t66 * t3601)
-  let t3610 := (-t3601)
-  let t3612 := ((t72 * t3610) + (t73 * t3600))
-  let t3615 := ((t66 * t3610) + (t77 * t3600))
-  let t3616 := ((0 : α) * t3608)
-  let t3617 := ((0 : α) * t3607)
-  let t3622 := ((0 : α) * t3604)
-  let t3626 := (t3622 + t3617)
-  let t3629 := ((0 : α) * t3606)
-  let t3630 := ((0 : α) * t3615)
-  let t3633 := ((((1 : α) * t3612) + t3630) + t3629)
-  let t3635 := ((0 : α) * t3612)
-  let t3637 := ((t3635 + ((1 : α) * t3615)) + t3629)
-  let t3639 := (t3635 + t3630)
-  let t3640 := (t3639 + ((1 : α) * t3606))
-  let t3648 := ((((((((1 : α) * t3604) + t3617) + t3616) * m.x00) + (((t3622 + ((1 : α) * t3607)) + t3616) * m.x10)) + ((t3626 + ((1 : α) * t3608)) * m.x20)) + ((t3626 + t3616) * (0 : α)))
-  let t3668 := ((t3639 + t3629) * (0 : α))
-  let t3674 := ((((t3633 * m.x00) + (t3637 * m.x10)) + (t3640 * m.x20)) + t3668)
-  (⟨(t3599 * (-(1 : α))), ((atan2 (sqrt ((t3674 * t3674) + (t3648 * t3648))) ((((((((1 : α) * t70) + t90) + t89) * m.x00) + (((t95 + ((1 : α) * t71)) + t89) * m.x10)) + ((t99 + ((1 : α) * t72)) * m.x20)) + ((t99 + t89) * (0 : α)))) * (-(1 : α))), ((atan2 ((((t3633 * m.x01) + (t3637 * m.x11)) + (t3640 * m.x21)) + t3668) ((((t3633 * m.x02) + (t3637 * m.x12)) + (t3640 * m.x22)) + t3668)) * (-(1 : α)))⟩, (17 : Int))
+  let t3559 := (atan2 m.x20 m.x10)
+  let t3560 := (cos t3559)
+  let t3561 := (sin t3559)
+  let t3564 := ((t72 * t3560) + (t73 * t3561))
+  let t3566 := (t66 * t3560)
+  let t3567 := (t3566 + (t77 * t3561))
+  let t3568 := (t66 * t3561)
+  let t3570 := (-t3561)
+  let t3572 := ((t72 * t3570) + (t73 * t3560))
+  let t3575 := ((t66 * t3570) + (t77 * t3560))
+  let t3576 := ((0 : α) * t3568)
+  let t3577 := ((0 : α) * t3567)
+  let t3582 := ((0 : α) * t3564)
+  let t3586 := (t3582 + t3577)
+  let t3589 := ((0 : α) * t3566)
+  let t3590 := ((0 : α) * t3575)
+  let t3593 := ((((1 : α) * t3572) + t3590) + t3589)
+  let t3595 := ((0 : α) * t3572)
+  let t3597 := ((t3595 + ((1 : α) * t3575)) + t3589)
+  let t3599 := (t3595 + t3590)
+  let t3600 := (t3599 + ((1 : α) * t3566))
+  let t3608 := ((((((((1 : α) * t3564) + t3577) + t3576) * m.x00) + (((t3582 + ((1 : α) * t3567)) + t3576) * m.x10)) + ((t3586 + ((1 : α) * t3568)) * m.x20)) + ((t3586 + t3576) * (0 : α)))
+  let t3628 := ((t3599 + t3589) * (0 : α))
+  let t3634 := ((((t3593 * m.x00) + (t3597 * m.x10)) + (t3600 * m.x20)) + t3628)
+  (⟨(t3559 * (-(1 : α))), ((atan2 (sqrt ((t3634 * t3634) + (t3608 * t3608))) ((((((((1 : α) * t70) + t90) + t89) * m.x00) + (((t95 + ((1 : α) * t71)) + t89) * m.x10)) + ((t99 + ((1 : α) * t72)) * m.x20)) + ((t99 + t89) * (0 : α)))) * (-(1 : α))), ((atan2 ((((t3593 * m.x01) + (t3597 * m.x11)) + (t3600 * m.x21)) + t3628) ((((t3593 * m.x02) + (t3597 * m.x12)) + (t3600 * m.x22)) + t3628)) * (-(1 : α)))⟩, (17 : Int))
 
 /-- extracted from the C++ template at T = Sym; 1 path(s) -/
 def Euler.ctorM44_XZX {α : Type} [Add α] [Mul α] [Neg α] [OfNat α 0] [OfNat α 1] (sqrt : α → α) (sin : α → α) (cos : α → α) (atan2 : α → α → α) (m : M44 α) : ((V3 α) × Int) :=
@@ -2494,31 +1852,31 @@ def Euler.ctorM44_XZX {α : Type} [Add α] [Mul α] [Neg α] [OfNat α 0] [OfNat
   let t90 := ((0 : α) * t71)
   let t95 := ((0 : α) * t70)
   let t99 := (t95 + t90)
-  let t3599 := (atan2 m.x20 m.x10)
-  let t3600 := (cos t3599)
-  let t3601 := (sin t3599)
-  let t3604 := ((t72 * t3600) + (t73 * t3601))
-  let t3606 := (t66 * t3600)
-  let t3607 := (t3606 + (t77 * t3601))
-  let t3608 := (t66 * t3601)
-  let t3610 := (-t3601)
-  let t3612 := ((t72 * t3610) + (t73 * t3600))
-  let t3615 := ((t66 * t3610) + (t77 * t3600))
-  let t3616 := ((0 : α) * t3608)
-  let t3617 := ((0 : α) * t3607)
-  let t3622 := ((0 : α) * t3604)
-  let t3626 := (t3622 + t3617)
-  let t3629 := ((0 : α) * t3606)
-  let t3630 := ((0 : α) * t3615)
-  let t3633 := ((((1 : α) * t3612) + t3630) + t3629)
-  let t3635 := ((0 : α) * t3612)
-  let t3637 := ((t3635 + ((1 : α) * t3615)) + t3629)
-  let t3639 := (t3635 + t3630)
-  let t3640 := (t3639 + ((1 : α) * t3606))
-  let t3641 := (t3639 + t3629)
-  let t3704 := ((((((((1 : α) * t3604) + t3617) + t3616) * m.x00) + (((t3622 + ((1 : α) * t3607)) + t3616) * m.x10)) + ((t3626 + ((1 : α) * t3608)) * m.x20)) + ((t3626 + t3616) * m.x30))
-  let t3717 := ((((t3633 * m.x00) + (t3637 * m.x10)) + (t3640 * m.x20)) + (t3641 * m.x30))
-  (⟨(t3599 * (-(1 : α))), ((atan2 (sqrt ((t3717 * t3717) + (t3704 * t3704))) ((((((((1 : α) * t70) + t90) + t89) * m.x00) + (((t95 + ((1 : α) * t71)) + t89) * m.x10)) + ((t99 + ((1 : α) * t72)) * m.x20)) + ((t99 + t89) * m.x30))) * (-(1 : α))), ((atan2 ((((t3633 * m.x01) + (t3637 * m.x11)) + (t3640 * m.x21)) + (t3641 * m.x31)) ((((t3633 * m.x02) + (t3637 * m.x12)) + (t3640 * m.x22)) + (t3641 * m.x32))) * (-(1 : α)))⟩, (17 : Int))
+  let t3559 := (atan2 m.x20 m.x10)
+  let t3560 := (cos t3559)
+  let t3561 := (sin t3559)
+  let t3564 := ((t72 * t3560) + (t73 * t3561))
+  let t3566 := (t66 * t3560)
+  let t3567 := (t3566 + (t77 * t3561))
+  let t3568 := (t66 * t3561)
+  let t3570 := (-t3561)
+  let t3572 := ((t72 * t3570) + (t73 * t3560))
+  let t3575 := ((t66 * t3570) + (t77 * t3560))
+  let t3576 := ((0 : α) * t3568)
+  let t3577 := ((0 : α) * t3567)
+  let t3582 := ((0 : α) * t3564)
+  let t3586 := (t3582 + t3577)
+  let t3589 := ((0 : α) * t3566)
+  let t3590 := ((0 : α) * t3575)
+  let t3593 := ((((1 : α) * t3572) + t3590) + t3589)
+  let t3595 := ((0 : α) * t3572)
+  let t3597 := ((t3595 + ((1 : α) * t3575)) + t3589)
+  let t3599 := (t3595 + t3590)
+  let t3600 := (t3599 + ((1 : α) * t3566))
+  let t3601 := (t3599 + t3589)
+  let t3664 := ((((((((1 : α) * t3564) + t3577) + t3576) * m.x00) + (((t3582 + ((1 : α) * t3567)) + t3576) * m.x10)) + ((t3586 + ((1 : α) * t3568)) * m.x20)) + ((t3586 + t3576) * m.x30))
+  let t3677 := ((((t3593 * m.x00) + (t3597 * m.x10)) + (t3600 * m.x20)) + (t3601 * m.x30))
+  (⟨(t3559 * (-(1 : α))), ((atan2 (sqrt ((t3677 * t3677) + (t3664 * t3664))) ((((((((1 : α) * t70) + t90) + t89) * m.x00) + (((t95 + ((1 : α) * t71)) + t89) * m.x10)) + ((t99 + ((1 : α) * t72)) * m.x20)) + ((t99 + t89) * m.x30))) * (-(1 : α))), ((atan2 ((((t3593 * m.x01) + (t3597 * m.x11)) + (t3600 * m.x21)) + (t3601 * m.x31)) ((((t3593 * m.x02) + (t3597 * m.x12)) + (t3600 * m.x22)) + (t3601 * m.x32))) * (-(1 : α)))⟩, (17 : Int))
 
 /-- extracted from the C++ template at T = Sym; 1 path(s) -/
 def Euler.extractQuat_XZX {α : Type} [Add α] [Sub α] [Mul α] [Neg α] [OfNat α 0] [OfNat α 1] [OfNat α 2] (sqrt : α → α) (sin : α → α) (cos : α → α) (atan2 : α → α → α) (q : Quat α) : (V3 α) :=
@@ -2533,43 +1891,43 @@ def Euler.extractQuat_XZX {α : Type} [Add α] [Sub α] [Mul α] [Neg α] [OfNat
   let t90 := ((0 : α) * t71)
   let t95 := ((0 : α) * t70)
   let t99 := (t95 + t90)
-  let t309 := (q.v.x * q.v.x)
-  let t310 := (q.v.y * q.v.y)
-  let t315 := (q.v.x * q.r)
-  let t316 := (q.v.y * q.v.z)
-  let t319 := (q.v.y * q.r)
-  let t320 := (q.v.z * q.v.x)
-  let t322 := ((2 : α) * (t320 + t319))
-  let t325 := (q.v.z * q.v.z)
-  let t329 := (q.v.z * q.r)
-  let t330 := (q.v.x * q.v.y)
-  let t332 := ((2 : α) * (t330 - t329))
-  let t339 := ((1 : α) - ((2 : α) * (t310 + t325)))
-  let t3737 := (atan2 t322 t332)
-  let t3738 := (cos t3737)
-  let t3739 := (sin t3737)
-  let t3742 := ((t72 * t3738) + (t73 * t3739))
-  let t3744 := (t66 * t3738)
-  let t3745 := (t3744 + (t77 * t3739))
-  let t3746 := (t66 * t3739)
-  let t3748 := (-t3739)
-  let t3750 := ((t72 * t3748) + (t73 * t3738))
-  let t3753 := ((t66 * t3748) + (t77 * t3738))
-  let t3754 := ((0 : α) * t3746)
-  let t3755 := ((0 : α) * t3745)
-  let t3760 := ((0 : α) * t3742)
-  let t3764 := (t3760 + t3755)
-  let t3767 := ((0 : α) * t3744)
-  let t3768 := ((0 : α) * t3753)
-  let t3771 := ((((1 : α) * t3750) + t3768) + t3767)
-  let t3773 := ((0 : α) * t3750)
-  let t3775 := ((t3773 + ((1 : α) * t3753)) + t3767)
-  let t3777 := (t3773 + t3768)
-  let t3778 := (t3777 + ((1 : α) * t3744))
-  let t3786 := ((((((((1 : α) * t3742) + t3755) + t3754) * t339) + (((t3760 + ((1 : α) * t3745)) + t3754) * t332)) + ((t3764 + ((1 : α) * t3746)) * t322)) + ((t3764 + t3754) * (0 : α)))
-  let t3806 := ((t3777 + t3767) * (0 : α))
-  let t3812 := ((((t3771 * t339) + (t3775 * t332)) + (t3778 * t322)) + t3806)
-  ⟨(t3737 * (-(1 : α))), ((atan2 (sqrt ((t3812 * t3812) + (t3786 * t3786))) ((((((((1 : α) * t70) + t90) + t89) * t339) + (((t95 + ((1 : α) * t71)) + t89) * t332)) + ((t99 + ((1 : α) * t72)) * t322)) + ((t99 + t89) * (0 : α)))) * (-(1 : α))), ((atan2 ((((t3771 * ((2 : α) * (t330 + t329))) + (t3775 * ((1 : α) - ((2 : α) * (t325 + t309))))) + (t3778 * ((2 : α) * (t316 - t315)))) + t3806) ((((t3771 * ((2 : α) * (t320 - t319))) + (t3775 * ((2 : α) * (t316 + t315)))) + (t3778 * ((1 : α) - ((2 : α) * (t310 + t309))))) + t3806)) * (-(1 : α)))⟩
+  let t306 := (q.v.x * q.v.x)
+  let t307 := (q.v.y * q.v.y)
+  let t312 := (q.v.x * q.r)
+  let t313 := (q.v.y * q.v.z)
+  let t316 := (q.v.y * q.r)
+  let t317 := (q.v.z * q.v.x)
+  let t319 := ((2 : α) * (t317 + t316))
+  let t322 := (q.v.z * q.v.z)
+  let t326 := (q.v.z * q.r)
+  let t327 := (q.v.x * q.v.y)
+  let t329 := ((2 : α) * (t327 - t326))
+  let t336 := ((1 : α) - ((2 : α) * (t307 + t322)))
+  let t3697 := (atan2 t319 t329)
+  let t3698 := (cos t3697)
+  let t3699 := (sin t3697)
+  let t3702 := ((t72 * t3698) + (t73 * t3699))
+  let t3704 := (t66 * t3698)
+  let t3705 := (t3704 + (t77 * t3699))
+  let t3706 := (t66 * t3699)
+  let t3708 := (-t3699)
+  let t3710 := ((t72 * t3708) + (t73 * t3698))
+  let t3713 := ((t66 * t3708) + (t77 * t3698))
+  let t3714 := ((0 : α) * t3706)
+  let t3715 := ((0 : α) * t3705)
+  let t3720 := ((0 : α) * t3702)
+  let t3724 := (t3720 + t3715)
+  let t3727 := ((0 : α) * t3704)
+  let t3728 := ((0 : α) * t3713)
+  let t3731 := ((((1 : α) * t3710) + t3728) + t3727)
+  let t3733 := ((0 : α) * t3710)
+  let t3735 := ((t3733 + ((1 : α) * t3713)) + t3727)
+  let t3737 := (t3733 + t3728)
+  let t3738 := (t3737 + ((1 : α) * t3704))
+  let t3746 := ((((((((1 : α) * t3702) + t3715) + t3714) * t336) + (((t3720 + ((1 : α) * t3705)) + t3714) * t329)) + ((t3724 + ((1 : α) * t3706)) * t319)) + ((t3724 + t3714) * (0 : α)))
+  let t3766 := ((t3737 + t3727) * (0 : α))
+  let t3772 := ((((t3731 * t336) + (t3735 * t329)) + (t3738 * t319)) + t3766)
+  ⟨(t3697 * (-(1 : α))), ((atan2 (sqrt ((t3772 * t3772) + (t3746 * t3746))) ((((((((1 : α) * t70) + t90) + t89) * t336) + (((t95 + ((1 : α) * t71)) + t89) * t329)) + ((t99 + ((1 : α) * t72)) * t319)) + ((t99 + t89) * (0 : α)))) * (-(1 : α))), ((atan2 ((((t3731 * ((2 : α) * (t327 + t326))) + (t3735 * ((1 : α) - ((2 : α) * (t322 + t306))))) + (t3738 * ((2 : α) * (t313 - t312)))) + t3766) ((((t3731 * ((2 : α) * (t317 - t316))) + (t3735 * ((2 : α) * (t313 + t312)))) + (t3738 * ((1 : α) - ((2 : α) * (t307 + t306))))) + t3766)) * (-(1 : α)))⟩
 
 /-- extracted from the C++ template at T = Sym; 1 path(s) -/
 def Euler.ctorXYZLayout_XZX {α : Type} (v : V3 α) : ((V3 α) × Int) :=
@@ -2637,31 +1995,31 @@ def Euler.reorderFromXYZ_XZX {α : Type} [Add α] [Sub α] [Mul α] [Neg α] [Of
   let t90 := ((0 : α) * t71)
   let t95 := ((0 : α) * t70)
   let t99 := (t95 + t90)
-  let t3841 := (atan2 t19 t17)
-  let t3842 := (cos t3841)
-  let t3843 := (sin t3841)
-  let t3846 := ((t72 * t3842) + (t73 * t3843))
-  let t3848 := (t66 * t3842)
-  let t3849 := (t3848 + (t77 * t3843))
-  let t3850 := (t66 * t3843)
-  let t3852 := (-t3843)
-  let t3854 := ((t72 * t3852) + (t73 * t3842))
-  let t3857 := ((t66 * t3852) + (t77 * t3842))
-  let t3858 := ((0 : α) * t3850)
-  let t3859 := ((0 : α) * t3849)
-  let t3864 := ((0 : α) * t3846)
-  let t3868 := (t3864 + t3859)
-  let t3871 := ((0 : α) * t3848)
-  let t3872 := ((0 : α) * t3857)
-  let t3875 := ((((1 : α) * t3854) + t3872) + t3871)
-  let t3877 := ((0 : α) * t3854)
-  let t3879 := ((t3877 + ((1 : α) * t3857)) + t3871)
-  let t3881 := (t3877 + t3872)
-  let t3882 := (t3881 + ((1 : α) * t3848))
-  let t3890 := ((((((((1 : α) * t3846) + t3859) + t3858) * t15) + (((t3864 + ((1 : α) * t3849)) + t3858) * t17)) + ((t3868 + ((1 : α) * t3850)) * t19)) + ((t3868 + t3858) * (0 : α)))
-  let t3910 := ((t3881 + t3871) * (0 : α))
-  let t3916 := ((((t3875 * t15) + (t3879 * t17)) + (t3882 * t19)) + t3910)
-  (⟨(t3841 * (-(1 : α))), ((atan2 (sqrt ((t3916 * t3916) + (t3890 * t3890))) ((((((((1 : α) * t70) + t90) + t89) * t15) + (((t95 + ((1 : α) * t71)) + t89) * t17)) + ((t99 + ((1 : α) * t72)) * t19)) + ((t99 + t89) * (0 : α)))) * (-(1 : α))), ((atan2 ((((t3875 * (t5 * t9)) + (t3879 * ((t8 * t13) + t10))) + (t3882 * ((t8 * t11) - t12))) + t3910) ((((t3875 * (-t8)) + (t3879 * (t5 * t7))) + (t3882 * (t5 * t4))) + t3910)) * (-(1 : α)))⟩, (17 : Int))
+  let t3801 := (atan2 t19 t17)
+  let t3802 := (cos t3801)
+  let t3803 := (sin t3801)
+  let t3806 := ((t72 * t3802) + (t73 * t3803))
+  let t3808 := (t66 * t3802)
+  let t3809 := (t3808 + (t77 * t3803))
+  let t3810 := (t66 * t3803)
+  let t3812 := (-t3803)
+  let t3814 := ((t72 * t3812) + (t73 * t3802))
+  let t3817 := ((t66 * t3812) + (t77 * t3802))
+  let t3818 := ((0 : α) * t3810)
+  let t3819 := ((0 : α) * t3809)
+  let t3824 := ((0 : α) * t3806)
+  let t3828 := (t3824 + t3819)
+  let t3831 := ((0 : α) * t3808)
+  let t3832 := ((0 : α) * t3817)
+  let t3835 := ((((1 : α) * t3814) + t3832) + t3831)
+  let t3837 := ((0 : α) * t3814)
+  let t3839 := ((t3837 + ((1 : α) * t3817)) + t3831)
+  let t3841 := (t3837 + t3832)
+  let t3842 := (t3841 + ((1 : α) * t3808))
+  let t3850 := ((((((((1 : α) * t3806) + t3819) + t3818) * t15) + (((t3824 + ((1 : α) * t3809)) + t3818) * t17)) + ((t3828 + ((1 : α) * t3810)) * t19)) + ((t3828 + t3818) * (0 : α)))
+  let t3870 := ((t3841 + t3831) * (0 : α))
+  let t3876 := ((((t3835 * t15) + (t3839 * t17)) + (t3842 * t19)) + t3870)
+  (⟨(t3801 * (-(1 : α))), ((atan2 (sqrt ((t3876 * t3876) + (t3850 * t3850))) ((((((((1 : α) * t70) + t90) + t89) * t15) + (((t95 + ((1 : α) * t71)) + t89) * t17)) + ((t99 + ((1 : α) * t72)) * t19)) + ((t99 + t89) * (0 : α)))) * (-(1 : α))), ((atan2 ((((t3835 * (t5 * t9)) + (t3839 * ((t8 * t13) + t10))) + (t3842 * ((t8 * t11) - t12))) + t3870) ((((t3835 * (-t8)) + (t3839 * (t5 * t7))) + (t3842 * (t5 * t4))) + t3870)) * (-(1 : α)))⟩, (17 : Int))
 
 /-- extracted from the C++ template at T = Sym; 1 path(s) -/
 def Euler.reorderToZYXr_XZX {α : Type} [Add α] [Sub α] [Mul α] [Neg α] [OfNat α 0] [OfNat α 1] (sqrt : α → α) (sin : α → α) (cos : α → α) (atan2 : α → α → α) (a : V3 α) : ((V3 α) × Int) :=
@@ -2678,45 +2036,26 @@ def Euler.reorderToZYXr_XZX {α : Type} [Add α] [Sub α] [Mul α] [Neg α] [OfN
   let t99 := (t95 + t90)
   let t100 := (t99 + ((1 : α) * t72))
   let t128 := ((t99 + t89) * (0 : α))
-  let t627 := (a.x * (-(1 : α)))
-  let t628 := (a.y * (-(1 : α)))
-  let t629 := (a.z * (-(1 : α)))
-  let t630 := (cos t627)
-  let t631 := (cos t628)
-  let t632 := (cos t629)
-  let t633 := (sin t627)
-  let t634 := (sin t628)
-  let t635 := (sin t629)
-  let t636 := (t630 * t632)
-  let t637 := (t630 * t635)
-  let t638 := (t633 * t632)
-  let t639 := (t633 * t635)
-  let t3577 := (t634 * t633)
-  let t3578 := (t634 * t630)
-  let t3580 := (-t631)
-  let t3582 := ((t3580 * t639) + t636)
-  let t3584 := ((t3580 * t637) - t638)
-  let t3585 := ((-t634) * t632)
-  let t3587 := ((t631 * t638) + t637)
-  let t3589 := ((t631 * t636) - t639)
-  let t3945 := (atan2 t3584 t3582)
-  let t3946 := (-t3945)
-  let t3947 := (cos t3946)
-  let t3948 := (sin t3946)
-  let t3951 := ((t72 * t3947) + ((t66 * t68) * t3948))
-  let t3954 := ((t66 * t3947) + ((t68 * t68) * t3948))
-  let t3955 := (t66 * t3948)
-  let t3963 := ((0 : α) * t3955)
-  let t3964 := ((0 : α) * t3954)
-  let t3967 := ((((1 : α) * t3951) + t3964) + t3963)
-  let t3969 := ((0 : α) * t3951)
-  let t3971 := ((t3969 + ((1 : α) * t3954)) + t3963)
-  let t3973 := (t3969 + t3964)
-  let t3974 := (t3973 + ((1 : α) * t3955))
-  let t3994 := ((((t93 * t631) + (t97 * t3578)) + (t100 * t3577)) + t128)
-  let t4000 := ((((t93 * t3585) + (t97 * t3589)) + (t100 * t3587)) + t128)
-  let t4007 := ((t3973 + t3963) * (0 : α))
-  (⟨(atan2 (-((((t3967 * t631) + (t3971 * t3578)) + (t3974 * t3577)) + t4007)) ((((t3967 * t3585) + (t3971 * t3589)) + (t3974 * t3587)) + t4007)), (atan2 (-((((t93 * (t634 * t635)) + (t97 * t3584)) + (t100 * t3582)) + t128)) (sqrt ((t3994 * t3994) + (t4000 * t4000)))), t3945⟩, (256 : Int))
+  let t622 := (a.x * (-(1 : α)))
+  let t623 := (a.y * (-(1 : α)))
+  let t624 := (a.z * (-(1 : α)))
+  let t625 := (cos t622)
+  let t626 := (cos t623)
+  let t627 := (cos t624)
+  let t628 := (sin t622)
+  let t629 := (sin t623)
+  let t630 := (sin t624)
+  let t631 := (t625 * t627)
+  let t632 := (t625 * t630)
+  let t633 := (t628 * t627)
+  let t634 := (t628 * t630)
+  let t3540 := (-t626)
+  let t3542 := ((t3540 * t634) + t631)
+  let t3544 := ((t3540 * t632) - t633)
+  let t3545 := ((-t629) * t627)
+  let t3954 := ((((t93 * t626) + (t97 * (t629 * t625))) + (t100 * (t629 * t628))) + t128)
+  let t3960 := ((((t93 * t3545) + (t97 * ((t626 * t631) - t634))) + (t100 * ((t626 * t633) + t632))) + t128)
+  (⟨(atan2 t3545 t626), (atan2 (-((((t93 * (t629 * t630)) + (t97 * t3544)) + (t100 * t3542)) + t128)) (sqrt ((t3954 * t3954) + (t3960 * t3960)))), (atan2 t3544 t3542)⟩, (256 : Int))
 
 /-- extracted from the C++ template at T = Sym; 1 path(s) -/
 def Euler.toMatrix33_XYX {α : Type} [Add α] [Sub α] [Mul α] [Neg α] (sin : α → α) (cos : α → α) (a : V3 α) : (M33 α) :=
@@ -2730,8 +2069,8 @@ def Euler.toMatrix33_XYX {α : Type} [Add α] [Sub α] [Mul α] [Neg α] (sin : 
   let t11 := (t4 * t9)
   let t12 := (t7 * t6)
   let t13 := (t7 * t9)
-  let t4088 := (-t5)
-  ⟨t5, (t8 * t9), ((-t8) * t6), (t8 * t7), ((t4088 * t13) + t10), ((t5 * t12) + t11), (t8 * t4), ((t4088 * t11) - t12), ((t5 * t10) - t13)⟩
+  let t4047 := (-t5)
+  ⟨t5, (t8 * t9), ((-t8) * t6), (t8 * t7), ((t4047 * t13) + t10), ((t5 * t12) + t11), (t8 * t4), ((t4047 * t11) - t12), ((t5 * t10) - t13)⟩
 
 /-- extracted from the C++ template at T = Sym; 1 path(s) -/
 def Euler.toMatrix44_XYX {α : Type} [Add α] [Sub α] [Mul α] [Neg α] [OfNat α 0] [OfNat α 1] (sin : α → α) (cos : α → α) (a : V3 α) : (M44 α) :=
@@ -2745,8 +2084,8 @@ def Euler.toMatrix44_XYX {α : Type} [Add α] [Sub α] [Mul α] [Neg α] [OfNat 
   let t11 := (t4 * t9)
   let t12 := (t7 * t6)
   let t13 := (t7 * t9)
-  let t4088 := (-t5)
-  ⟨t5, (t8 * t9), ((-t8) * t6), (0 : α), (t8 * t7), ((t4088 * t13) + t10), ((t5 * t12) + t11), (0 : α), (t8 * t4), ((t4088 * t11) - t12), ((t5 * t10) - t13), (0 : α), (0 : α), (0 : α), (0 : α), (1 : α)⟩
+  let t4047 := (-t5)
+  ⟨t5, (t8 * t9), ((-t8) * t6), (0 : α), (t8 * t7), ((t4047 * t13) + t10), ((t5 * t12) + t11), (0 : α), (t8 * t4), ((t4047 * t11) - t12), ((t5 * t10) - t13), (0 : α), (0 : α), (0 : α), (0 : α), (1 : α)⟩
 
 /-- extracted from the C++ template at T = Sym; 1 path(s) -/
 def Euler.toQuat_XYX {α : Type} [Add α] [Sub α] [Mul α] [Div α] [OfNat α 1] [OfNat α 2] (sin : α → α) (cos : α → α) (a : V3 α) : (Quat α) :=
@@ -2778,32 +2117,32 @@ def Euler.extractM33_XYX {α : Type} [Add α] [Mul α] [Neg α] [OfNat α 0] [Of
   let t90 := ((0 : α) * t71)
   let t95 := ((0 : α) * t70)
   let t99 := (t95 + t90)
-  let t4103 := (atan2 m.x10 m.x20)
-  let t4104 := (-t4103)
-  let t4105 := (cos t4104)
-  let t4106 := (sin t4104)
-  let t4109 := ((t72 * t4105) + (t73 * t4106))
-  let t4111 := (t66 * t4105)
-  let t4112 := (t4111 + (t77 * t4106))
-  let t4113 := (t66 * t4106)
-  let t4115 := (-t4106)
-  let t4117 := ((t72 * t4115) + (t73 * t4105))
-  let t4120 := ((t66 * t4115) + (t77 * t4105))
-  let t4121 := ((0 : α) * t4113)
-  let t4122 := ((0 : α) * t4112)
-  let t4125 := ((((1 : α) * t4109) + t4122) + t4121)
-  let t4127 := ((0 : α) * t4109)
-  let t4129 := ((t4127 + ((1 : α) * t4112)) + t4121)
-  let t4131 := (t4127 + t4122)
-  let t4132 := (t4131 + ((1 : α) * t4113))
-  let t4134 := ((0 : α) * t4111)
-  let t4135 := ((0 : α) * t4120)
-  let t4140 := ((0 : α) * t4117)
-  let t4144 := (t4140 + t4135)
-  let t4147 := ((t4131 + t4121) * (0 : α))
-  let t4153 := ((((t4125 * m.x00) + (t4129 * m.x10)) + (t4132 * m.x20)) + t4147)
-  let t4179 := ((((((((1 : α) * t4117) + t4135) + t4134) * m.x00) + (((t4140 + ((1 : α) * t4120)) + t4134) * m.x10)) + ((t4144 + ((1 : α) * t4111)) * m.x20)) + ((t4144 + t4134) * (0 : α)))
-  ⟨t4103, (atan2 (sqrt ((t4153 * t4153) + (t4179 * t4179))) ((((((((1 : α) * t70) + t90) + t89) * m.x00) + (((t95 + ((1 : α) * t71)) + t89) * m.x10)) + ((t99 + ((1 : α) * t72)) * m.x20)) + ((t99 + t89) * (0 : α)))), (atan2 ((((t4125 * m.x02) + (t4129 * m.x12)) + (t4132 * m.x22)) + t4147) ((((t4125 * m.x01) + (t4129 * m.x11)) + (t4132 * m.x21)) + t4147))⟩
+  let t4062 := (atan2 m.x10 m.x20)
+  let t4063 := (-t4062)
+  let t4064 := (cos t4063)
+  let t4065 := (sin t4063)
+  let t4068 := ((t72 * t4064) + (t73 * t4065))
+  let t4070 := (t66 * t4064)
+  let t4071 := (t4070 + (t77 * t4065))
+  let t4072 := (t66 * t4065)
+  let t4074 := (-t4065)
+  let t4076 := ((t72 * t4074) + (t73 * t4064))
+  let t4079 := ((t66 * t4074) + (t77 * t4064))
+  let t4080 := ((0 : α) * t4072)
+  let t4081 := ((0 : α) * t4071)
+  let t4084 := ((((1 : α) * t4068) + t4081) + t4080)
+  let t4086 := ((0 : α) * t4068)
+  let t4088 := ((t4086 + ((1 : α) * t4071)) + t4080)
+  let t4090 := (t4086 + t4081)
+  let t4091 := (t4090 + ((1 : α) * t4072))
+  let t4093 := ((0 : α) * t4070)
+  let t4094 := ((0 : α) * t4079)
+  let t4099 := ((0 : α) * t4076)
+  let t4103 := (t4099 + t4094)
+  let t4106 := ((t4090 + t4080) * (0 : α))
+  let t4112 := ((((t4084 * m.x00) + (t4088 * m.x10)) + (t4091 * m.x20)) + t4106)
+  let t4138 := ((((((((1 : α) * t4076) + t4094) + t4093) * m.x00) + (((t4099 + ((1 : α) * t4079)) + t4093) * m.x10)) + ((t4103 + ((1 : α) * t4070)) * m.x20)) + ((t4103 + t4093) * (0 : α)))
+  ⟨t4062, (atan2 (sqrt ((t4112 * t4112) + (t4138 * t4138))) ((((((((1 : α) * t70) + t90) + t89) * m.x00) + (((t95 + ((1 : α) * t71)) + t89) * m.x10)) + ((t99 + ((1 : α) * t72)) * m.x20)) + ((t99 + t89) * (0 : α)))), (atan2 ((((t4084 * m.x02) + (t4088 * m.x12)) + (t4091 * m.x22)) + t4106) ((((t4084 * m.x01) + (t4088 * m.x11)) + (t4091 * m.x21)) + t4106))⟩
 
 /-- extracted from the C++ template at T = Sym; 1 path(s) -/
 def Euler.extractM44_XYX {α : Type} [Add α] [Mul α] [Neg α] [OfNat α 0] [OfNat α 1] (sqrt : α → α) (sin : α → α) (cos : α → α) (atan2 : α → α → α) (m : M44 α) : (V3 α) :=
@@ -2818,32 +2157,32 @@ def Euler.extractM44_XYX {α : Type} [Add α] [Mul α] [Neg α] [OfNat α 0] [Of
   let t90 := ((0 : α) * t71)
   let t95 := ((0 : α) * t70)
   let t99 := (t95 + t90)
-  let t4103 := (atan2 m.x10 m.x20)
-  let t4104 := (-t4103)
-  let t4105 := (cos t4104)
-  let t4106 := (sin t4104)
-  let t4109 := ((t72 * t4105) + (t73 * t4106))
-  let t4111 := (t66 * t4105)
-  let t4112 := (t4111 + (t77 * t4106))
-  let t4113 := (t66 * t4106)
-  let t4115 := (-t4106)
-  let t4117 := ((t72 * t4115) + (t73 * t4105))
-  let t4120 := ((t66 * t4115) + (t77 * t4105))
-  let t4121 := ((0 : α) * t4113)
-  let t4122 := ((0 : α) * t4112)
-  let t4125 := ((((1 : α) * t4109) + t4122) + t4121)
-  let t4127 := ((0 : α) * t4109)
-  let t4129 := ((t4127 + ((1 : α) * t4112)) + t4121)
-  let t4131 := (t4127 + t4122)
-  let t4132 := (t4131 + ((1 : α) * t4113))
-  let t4133 := (t4131 + t4121)
-  let t4134 := ((0 : α) * t4111)
-  let t4135 := ((0 : α) * t4120)
-  let t4140 := ((0 : α) * t4117)
-  let t4144 := (t4140 + t4135)
-  let t4206 := ((((t4125 * m.x00) + (t4129 * m.x10)) + (t4132 * m.x20)) + (t4133 * m.x30))
-  let t4219 := ((((((((1 : α) * t4117) + t4135) + t4134) * m.x00) + (((t4140 + ((1 : α) * t4120)) + t4134) * m.x10)) + ((t4144 + ((1 : α) * t4111)) * m.x20)) + ((t4144 + t4134) * m.x30))
-  ⟨t4103, (atan2 (sqrt ((t4206 * t4206) + (t4219 * t4219))) ((((((((1 : α) * t70) + t90) + t89) * m.x00) + (((t95 + ((1 : α) * t71)) + t89) * m.x10)) + ((t99 + ((1 : α) * t72)) * m.x20)) + ((t99 + t89) * m.x30))), (atan2 ((((t4125 * m.x02) + (t4129 * m.x12)) + (t4132 * m.x22)) + (t4133 * m.x32)) ((((t4125 * m.x01) + (t4129 * m.x11)) + (t4132 * m.x21)) + (t4133 * m.x31)))⟩
+  let t4062 := (atan2 m.x10 m.x20)
+  let t4063 := (-t4062)
+  let t4064 := (cos t4063)
+  let t4065 := (sin t4063)
+  let t4068 := ((t72 * t4064) + (t73 * t4065))
+  let t4070 := (t66 * t4064)
+  let t4071 := (t4070 + (t77 * t4065))
+  let t4072 := (t66 * t4065)
+  let t4074 := (-t4065)
+  let t4076 := ((t72 * t4074) + (t73 * t4064))
+  let t4079 := ((t66 * t4074) + (t77 * t4064))
+  let t4080 := ((0 : α) * t4072)
+  let t4081 := ((0 : α) * t4071)
+  let t4084 := ((((1 : α) * t4068) + t4081) + t4080)
+  let t4086 := ((0 : α) * t4068)
+  let t4088 := ((t4086 + ((1 : α) * t4071)) + t4080)
+  let t4090 := (t4086 + t4081)
+  let t4091 := (t4090 + ((1 : α) * t4072))
+  let t4092 := (t4090 + t4080)
+  let t4093 := ((0 : α) * t4070)
+  let t4094 := ((0 : α) * t4079)
+  let t4099 := ((0 : α) * t4076)
+  let t4103 := (t4099 + t4094)
+  let t4165 := ((((t4084 * m.x00) + (t4088 * m.x10)) + (t4091 * m.x20)) + (t4092 * m.x30))
+  let t4178 := ((((((((1 : α) * t4076) + t4094) + t4093) * m.x00) + (((t4099 + ((1 : α) * t4079)) + t4093) * m.x10)) + ((t4103 + ((1 : α) * t4070)) * m.x20)) + ((t4103 + t4093) * m.x30))
+  ⟨t4062, (atan2 (sqrt ((t4165 * t4165) + (t4178 * t4178))) ((((((((1 : α) * t70) + t90) + t89) * m.x00) + (((t95 + ((1 : α) * t71)) + t89) * m.x10)) + ((t99 + ((1 : α) * t72)) * m.x20)) + ((t99 + t89) * m.x30))), (atan2 ((((t4084 * m.x02) + (t4088 * m.x12)) + (t4091 * m.x22)) + (t4092 * m.x32)) ((((t4084 * m.x01) + (t4088 * m.x11)) + (t4091 * m.x21)) + (t4092 * m.x31)))⟩
 
 /-- extracted from the C++ template at T = Sym; 1 path(s) -/
 def Euler.ctorM33_XYX {α : Type} [Add α] [Mul α] [Neg α] [OfNat α 0] [OfNat α 1] (sqrt : α → α) (sin : α → α) (cos : α → α) (atan2 : α → α → α) (m : M33 α) : ((V3 α) × Int) :=
@@ -2858,32 +2197,32 @@ def Euler.ctorM33_XYX {α : Type} [Add α] [Mul α] [Neg α] [OfNat α 0] [OfNat
   let t90 := ((0 : α) * t71)
   let t95 := ((0 : α) * t70)
   let t99 := (t95 + t90)
-  let t4103 := (atan2 m.x10 m.x20)
-  let t4104 := (-t4103)
-  let t4105 := (cos t4104)
-  let t4106 := (sin t4104)
-  let t4109 := ((t72 * t4105) + (t73 * t4106))
-  let t4111 := (t66 * t4105)
-  let t4112 := (t4111 + (t77 * t4106))
-  let t4113 := (t66 * t4106)
-  let t4115 := (-t4106)
-  let t4117 := ((t72 * t4115) + (t73 * t4105))
-  let t4120 := ((t66 * t4115) + (t77 * t4105))
-  let t4121 := ((0 : α) * t4113)
-  let t4122 := ((0 : α) * t4112)
-  let t4125 := ((((1 : α) * t4109) + t4122) + t4121)
-  let t4127 := ((0 : α) * t4109)
-  let t4129 := ((t4127 + ((1 : α) * t4112)) + t4121)
-  let t4131 := (t4127 + t4122)
-  let t4132 := (t4131 + ((1 : α) * t4113))
-  let t4134 := ((0 : α) * t4111)
-  let t4135 := ((0 : α) * t4120)
-  let t4140 := ((0 : α) * t4117)
-  let t4144 := (t4140 + t4135)
-  let t4147 := ((t4131 + t4121) * (0 : α))
-  let t4153 := ((((t4125 * m.x00) + (t4129 * m.x10)) + (t4132 * m.x20)) + t4147)
-  let t4179 := ((((((((1 : α) * t4117) + t4135) + t4134) * m.x00) + (((t4140 + ((1 : α) * t4120)) + t4134) * m.x10)) + ((t4144 + ((1 : α) * t4111)) * m.x20)) + ((t4144 + t4134) * (0 : α)))
-  (⟨t4103, (atan2 (sqrt ((t4153 * t4153) + (t4179 * t4179))) ((((((((1 : α) * t70) + t90) + t89) * m.x00) + (((t95 + ((1 : α) * t71)) + t89) * m.x10)) + ((t99 + ((1 : α) * t72)) * m.x20)) + ((t99 + t89) * (0 : α)))), (atan2 ((((t4125 * m.x02) + (t4129 * m.x12)) + (t4132 * m.x22)) + t4147) ((((t4125 * m.x01) + (t4129 * m.x11)) + (t4132 * m.x21)) + t4147))⟩, (273 : Int))
+  let t4062 := (atan2 m.x10 m.x20)
+  let t4063 := (-t4062)
+  let t4064 := (cos t4063)
+  let t4065 := (sin t4063)
+  let t4068 := ((t72 * t4064) + (t73 * t4065))
+  let t4070 := (t66 * t4064)
+  let t4071 := (t4070 + (t77 * t4065))
+  let t4072 := (t66 * t4065)
+  let t4074 := (-t4065)
+  let t4076 := ((t72 * t4074) + (t73 * t4064))
+  let t4079 := ((t66 * t4074) + (t77 * t4064))
+  let t4080 := ((0 : α) * t4072)
+  let t4081 := ((0 : α) * t4071)
+  let t4084 := ((((1 : α) * t4068) + t4081) + t4080)
+  let t4086 := ((0 : α) * t4068)
+  let t4088 := ((t4086 + ((1 : α) * t4071)) + t4080)
+  let t4090 := (t4086 + t4081)
+  let t4091 := (t4090 + ((1 : α) * t4072))
+  let t4093 := ((0 : α) * t4070)
+  let t4094 := ((0 : α) * t4079)
+  let t4099 := ((0 : α) * t4076)
+  let t4103 := (t4099 + t4094)
+  let t4106 := ((t4090 + t4080) * (0 : α))
+  let t4112 := ((((t4084 * m.x00) + (t4088 * m.x10)) + (t4091 * m.x20)) + t4106)
+  let t4138 := ((((((((1 : α) * t4076) + t4094) + t4093) * m.x00) + (((t4099 + ((1 : α) * t4079)) + t4093) * m.x10)) + ((t4103 + ((1 : α) * t4070)) * m.x20)) + ((t4103 + t4093) * (0 : α)))
+  (⟨t4062, (atan2 (sqrt ((t4112 * t4112) + (t4138 * t4138))) ((((((((1 : α) * t70) + t90) + t89) * m.x00) + (((t95 + ((1 : α) * t71)) + t89) * m.x10)) + ((t99 + ((1 : α) * t72)) * m.x20)) + ((t99 + t89) * (0 : α)))), (atan2 ((((t4084 * m.x02) + (t4088 * m.x12)) + (t4091 * m.x22)) + t4106) ((((t4084 * m.x01) + (t4088 * m.x11)) + (t4091 * m.x21)) + t4106))⟩, (273 : Int))
 
 /-- extracted from the C++ template at T = Sym; 1 path(s) -/
 def Euler.ctorM44_XYX {α : Type} [Add α] [Mul α] [Neg α] [OfNat α 0] [OfNat α 1] (sqrt : α → α) (sin : α → α) (cos : α → α) (atan2 : α → α → α) (m : M44 α) : ((V3 α) × Int) :=
@@ -2898,32 +2237,32 @@ def Euler.ctorM44_XYX {α : Type} [Add α] [Mul α] [Neg α] [OfNat α 0] [OfNat
   let t90 := ((0 : α) * t71)
   let t95 := ((0 : α) * t70)
   let t99 := (t95 + t90)
-  let t4103 := (atan2 m.x10 m.x20)
-  let t4104 := (-t4103)
-  let t4105 := (cos t4104)
-  let t4106 := (sin t4104)
-  let t4109 := ((t72 * t4105) + (t73 * t4106))
-  let t4111 := (t66 * t4105)
-  let t4112 := (t4111 + (t77 * t4106))
-  let t4113 := (t66 * t4106)
-  let t4115 := (-t4106)
-  let t4117 := ((t72 * t4115) + (t73 * t4105))
-  let t4120 := ((t66 * t4115) + (t77 * t4105))
-  let t4121 := ((0 : α) * t4113)
-  let t4122 := ((0 : α) * t4112)
-  let t4125 := ((((1 : α) * t4109) + t4122) + t4121)
-  let t4127 := ((0 : α) * t4109)
-  let t4129 := ((t4127 + ((1 : α) * t4112)) + t4121)
-  let t4131 := (t4127 + t4122)
-  let t4132 := (t4131 + ((1 : α) * t4113))
-  let t4133 := (t4131 + t4121)
-  let t4134 := ((0 : α) * t4111)
-  let t4135 := ((0 : α) * t4120)
-  let t4140 := ((0 : α) * t4117)
-  let t4144 := (t4140 + t4135)
-  let t4206 := ((((t4125 * m.x00) + (t4129 * m.x10)) + (t4132 * m.x20)) + (t4133 * m.x30))
-  let t4219 := ((((((((1 : α) * t4117) + t4135) + t4134) * m.x00) + (((t4140 + ((1 : α) * t4120)) + t4134) * m.x10)) + ((t4144 + ((1 : α) * t4111)) * m.x20)) + ((t4144 + t4134) * m.x30))
-  (⟨t4103, (atan2 (sqrt ((t4206 * t4206) + (t4219 * t4219))) ((((((((1 : α) * t70) + t90) + t89) * m.x00) + (((t95 + ((1 : α) * t71)) + t89) * m.x10)) + ((t99 + ((1 : α) * t72)) * m.x20)) + ((t99 + t89) * m.x30))), (atan2 ((((t4125 * m.x02) + (t4129 * m.x12)) + (t4132 * m.x22)) + (t4133 * m.x32)) ((((t4125 * m.x01) + (t4129 * m.x11)) + (t4132 * m.x21)) + (t4133 * m.x31)))⟩, (273 : Int))
+  let t4062 := (atan2 m.x10 m.x20)
+  let t4063 := (-t4062)
+  let t4064 := (cos t4063)
+  let t4065 := (sin t4063)
+  let t4068 := ((t72 * t4064) + (t73 * t4065))
+  let t4070 := (t66 * t4064)
+  let t4071 := (t4070 + (t77 * t4065))
+  let t4072 := (t66 * t4065)
+  let t4074 := (-t4065)
+  let t4076 := ((t72 * t4074) + (t73 * t4064))
+  let t4079 := ((t66 * t4074) + (t77 * t4064))
+  let t4080 := ((0 : α) * t4072)
+  let t4081 := ((0 : α) * t4071)
+  let t4084 := ((((1 : α) * t4068) + t4081) + t4080)
+  let t4086 := ((0 : α) * t4068)
+  let t4088 := ((t4086 + ((1 : α) * t4071)) + t4080)
+  let t4090 := (t4086 + t4081)
+  let t4091 := (t4090 + ((1 : α) * t4072))
+  let t4092 := (t4090 + t4080)
+  let t4093 := ((0 : α) * t4070)
+  let t4094 := ((0 : α) * t4079)
+  let t4099 := ((0 : α) * t4076)
+  let t4103 := (t4099 + t4094)
+  let t4165 := ((((t4084 * m.x00) + (t4088 * m.x10)) + (t4091 * m.x20)) + (t4092 * m.x30))
+  let t4178 := ((((((((1 : α) * t4076) + t4094) + t4093) * m.x00) + (((t4099 + ((1 : α) * t4079)) + t4093) * m.x10)) + ((t4103 + ((1 : α) * t4070)) * m.x20)) + ((t4103 + t4093) * m.x30))
+  (⟨t4062, (atan2 (sqrt ((t4165 * t4165) + (t4178 * t4178))) ((((((((1 : α) * t70) + t90) + t89) * m.x00) + (((t95 + ((1 : α) * t71)) + t89) * m.x10)) + ((t99 + ((1 : α) * t72)) * m.x20)) + ((t99 + t89) * m.x30))), (atan2 ((((t4084 * m.x02) + (t4088 * m.x12)) + (t4091 * m.x22)) + (t4092 * m.x32)) ((((t4084 * m.x01) + (t4088 * m.x11)) + (t4091 * m.x21)) + (t4092 * m.x31)))⟩, (273 : Int))
 
 /-- extracted from the C++ template at T = Sym; 1 path(s) -/
 def Euler.extractQuat_XYX {α : Type} [Add α] [Sub α] [Mul α] [Neg α] [OfNat α 0] [OfNat α 1] [OfNat α 2] (sqrt : α → α) (sin : α → α) (cos : α → α) (atan2 : α → α → α) (q : Quat α) : (V3 α) :=
@@ -2938,44 +2277,44 @@ def Euler.extractQuat_XYX {α : Type} [Add α] [Sub α] [Mul α] [Neg α] [OfNat
   let t90 := ((0 : α) * t71)
   let t95 := ((0 : α) * t70)
   let t99 := (t95 + t90)
-  let t309 := (q.v.x * q.v.x)
-  let t310 := (q.v.y * q.v.y)
-  let t315 := (q.v.x * q.r)
-  let t316 := (q.v.y * q.v.z)
-  let t319 := (q.v.y * q.r)
-  let t320 := (q.v.z * q.v.x)
-  let t322 := ((2 : α) * (t320 + t319))
-  let t325 := (q.v.z * q.v.z)
-  let t329 := (q.v.z * q.r)
-  let t330 := (q.v.x * q.v.y)
-  let t332 := ((2 : α) * (t330 - t329))
-  let t339 := ((1 : α) - ((2 : α) * (t310 + t325)))
-  let t4237 := (atan2 t332 t322)
-  let t4238 := (-t4237)
-  let t4239 := (cos t4238)
-  let t4240 := (sin t4238)
-  let t4243 := ((t72 * t4239) + (t73 * t4240))
-  let t4245 := (t66 * t4239)
-  let t4246 := (t4245 + (t77 * t4240))
-  let t4247 := (t66 * t4240)
-  let t4249 := (-t4240)
-  let t4251 := ((t72 * t4249) + (t73 * t4239))
-  let t4254 := ((t66 * t4249) + (t77 * t4239))
-  let t4255 := ((0 : α) * t4247)
-  let t4256 := ((0 : α) * t4246)
-  let t4259 := ((((1 : α) * t4243) + t4256) + t4255)
-  let t4261 := ((0 : α) * t4243)
-  let t4263 := ((t4261 + ((1 : α) * t4246)) + t4255)
-  let t4265 := (t4261 + t4256)
-  let t4266 := (t4265 + ((1 : α) * t4247))
-  let t4268 := ((0 : α) * t4245)
-  let t4269 := ((0 : α) * t4254)
-  let t4274 := ((0 : α) * t4251)
-  let t4278 := (t4274 + t4269)
-  let t4281 := ((t4265 + t4255) * (0 : α))
-  let t4287 := ((((t4259 * t339) + (t4263 * t332)) + (t4266 * t322)) + t4281)
-  let t4313 := ((((((((1 : α) * t4251) + t4269) + t4268) * t339) + (((t4274 + ((1 : α) * t4254)) + t4268) * t332)) + ((t4278 + ((1 : α) * t4245)) * t322)) + ((t4278 + t4268) * (0 : α)))
-  ⟨t4237, (atan2 (sqrt ((t4287 * t4287) + (t4313 * t4313))) ((((((((1 : α) * t70) + t90) + t89) * t339) + (((t95 + ((1 : α) * t71)) + t89) * t332)) + ((t99 + ((1 : α) * t72)) * t322)) + ((t99 + t89) * (0 : α)))), (atan2 ((((t4259 * ((2 : α) * (t320 - t319))) + (t4263 * ((2 : α) * (t316 + t315)))) + (t4266 * ((1 : α) - ((2 : α) * (t310 + t309))))) + t4281) ((((t4259 * ((2 : α) * (t330 + t329))) + (t4263 * ((1 : α) - ((2 : α) * (t325 + t309))))) + (t4266 * ((2 : α) * (t316 - t315)))) + t4281))⟩
+  let t306 := (q.v.x * q.v.x)
+  let t307 := (q.v.y * q.v.y)
+  let t312 := (q.v.x * q.r)
+  let t313 := (q.v.y * q.v.z)
+  let t316 := (q.v.y * q.r)
+  let t317 := (q.v.z * q.v.x)
+  let t319 := ((2 : α) * (t317 + t316))
+  let t322 := (q.v.z * q.v.z)
+  let t326 := (q.v.z * q.r)
+  let t327 := (q.v.x * q.v.y)
+  let t329 := ((2 : α) * (t327 - t326))
+  let t336 := ((1 : α) - ((2 : α) * (t307 + t322)))
+  let t4196 := (atan2 t329 t319)
+  let t4197 := (-t4196)
+  let t4198 := (cos t4197)
+  let t4199 := (sin t4197)
+  let t4202 := ((t72 * t4198) + (t73 * t4199))
+  let t4204 := (t66 * t4198)
+  let t4205 := (t4204 + (t77 * t4199))
+  let t4206 := (t66 * t4199)
+  let t4208 := (-t4199)
+  let t4210 := ((t72 * t4208) + (t73 * t4198))
+  let t4213 := ((t66 * t4208) + (t77 * t4198))
+  let t4214 := ((0 : α) * t4206)
+  let t4215 := ((0 : α) * t4205)
+  let t4218 := ((((1 : α) * t4202) + t4215) + t4214)
+  let t4220 := ((0 : α) * t4202)
+  let t4222 := ((t4220 + ((1 : α) * t4205)) + t4214)
+  let t4224 := (t4220 + t4215)
+  let t4225 := (t4224 + ((1 : α) * t4206))
+  let t4227 := ((0 : α) * t4204)
+  let t4228 := ((0 : α) * t4213)
+  let t4233 := ((0 : α) * t4210)
+  let t4237 := (t4233 + t4228)
+  let t4240 := ((t4224 + t4214) * (0 : α))
+  let t4246 := ((((t4218 * t336) + (t4222 * t329)) + (t4225 * t319)) + t4240)
+  let t4272 := ((((((((1 : α) * t4210) + t4228) + t4227) * t336) + (((t4233 + ((1 : α) * t4213)) + t4227) * t329)) + ((t4237 + ((1 : α) * t4204)) * t319)) + ((t4237 + t4227) * (0 : α)))
+  ⟨t4196, (atan2 (sqrt ((t4246 * t4246) + (t4272 * t4272))) ((((((((1 : α) * t70) + t90) + t89) * t336) + (((t95 + ((1 : α) * t71)) + t89) * t329)) + ((t99 + ((1 : α) * t72)) * t319)) + ((t99 + t89) * (0 : α)))), (atan2 ((((t4218 * ((2 : α) * (t317 - t316))) + (t4222 * ((2 : α) * (t313 + t312)))) + (t4225 * ((1 : α) - ((2 : α) * (t307 + t306))))) + t4240) ((((t4218 * ((2 : α) * (t327 + t326))) + (t4222 * ((1 : α) - ((2 : α) * (t322 + t306))))) + (t4225 * ((2 : α) * (t313 - t312)))) + t4240))⟩
 
 /-- extracted from the C++ template at T = Sym; 1 path(s) -/
 def Euler.ctorXYZLayout_XYX {α : Type} (v : V3 α) : ((V3 α) × Int) :=
@@ -3043,32 +2382,32 @@ def Euler.reorderFromXYZ_XYX {α : Type} [Add α] [Sub α] [Mul α] [Neg α] [Of
   let t90 := ((0 : α) * t71)
   let t95 := ((0 : α) * t70)
   let t99 := (t95 + t90)
-  let t4339 := (atan2 t17 t19)
-  let t4340 := (-t4339)
-  let t4341 := (cos t4340)
-  let t4342 := (sin t4340)
-  let t4345 := ((t72 * t4341) + (t73 * t4342))
-  let t4347 := (t66 * t4341)
-  let t4348 := (t4347 + (t77 * t4342))
-  let t4349 := (t66 * t4342)
-  let t4351 := (-t4342)
-  let t4353 := ((t72 * t4351) + (t73 * t4341))
-  let t4356 := ((t66 * t4351) + (t77 * t4341))
-  let t4357 := ((0 : α) * t4349)
-  let t4358 := ((0 : α) * t4348)
-  let t4361 := ((((1 : α) * t4345) + t4358) + t4357)
-  let t4363 := ((0 : α) * t4345)
-  let t4365 := ((t4363 + ((1 : α) * t4348)) + t4357)
-  let t4367 := (t4363 + t4358)
-  let t4368 := (t4367 + ((1 : α) * t4349))
-  let t4370 := ((0 : α) * t4347)
-  let t4371 := ((0 : α) * t4356)
-  let t4376 := ((0 : α) * t4353)
-  let t4380 := (t4376 + t4371)
-  let t4383 := ((t4367 + t4357) * (0 : α))
-  let t4389 := ((((t4361 * t15) + (t4365 * t17)) + (t4368 * t19)) + t4383)
-  let t4415 := ((((((((1 : α) * t4353) + t4371) + t4370) * t15) + (((t4376 + ((1 : α) * t4356)) + t4370) * t17)) + ((t4380 + ((1 : α) * t4347)) * t19)) + ((t4380 + t4370) * (0 : α)))
-  (⟨t4339, (atan2 (sqrt ((t4389 * t4389) + (t4415 * t4415))) ((((((((1 : α) * t70) + t90) + t89) * t15) + (((t95 + ((1 : α) * t71)) + t89) * t17)) + ((t99 + ((1 : α) * t72)) * t19)) + ((t99 + t89) * (0 : α)))), (atan2 ((((t4361 * (-t8)) + (t4365 * (t5 * t7))) + (t4368 * (t5 * t4))) + t4383) ((((t4361 * (t5 * t9)) + (t4365 * ((t8 * t13) + t10))) + (t4368 * ((t8 * t11) - t12))) + t4383))⟩, (273 : Int))
+  let t4298 := (atan2 t17 t19)
+  let t4299 := (-t4298)
+  let t4300 := (cos t4299)
+  let t4301 := (sin t4299)
+  let t4304 := ((t72 * t4300) + (t73 * t4301))
+  let t4306 := (t66 * t4300)
+  let t4307 := (t4306 + (t77 * t4301))
+  let t4308 := (t66 * t4301)
+  let t4310 := (-t4301)
+  let t4312 := ((t72 * t4310) + (t73 * t4300))
+  let t4315 := ((t66 * t4310) + (t77 * t4300))
+  let t4316 := ((0 : α) * t4308)
+  let t4317 := ((0 : α) * t4307)
+  let t4320 := ((((1 : α) * t4304) + t4317) + t4316)
+  let t4322 := ((0 : α) * t4304)
+  let t4324 := ((t4322 + ((1 : α) * t4307)) + t4316)
+  let t4326 := (t4322 + t4317)
+  let t4327 := (t4326 + ((1 : α) * t4308))
+  let t4329 := ((0 : α) * t4306)
+  let t4330 := ((0 : α) * t4315)
+  let t4335 := ((0 : α) * t4312)
+  let t4339 := (t4335 + t4330)
+  let t4342 := ((t4326 + t4316) * (0 : α))
+  let t4348 := ((((t4320 * t15) + (t4324 * t17)) + (t4327 * t19)) + t4342)
+  let t4374 := ((((((((1 : α) * t4312) + t4330) + t4329) * t15) + (((t4335 + ((1 : α) * t4315)) + t4329) * t17)) + ((t4339 + ((1 : α) * t4306)) * t19)) + ((t4339 + t4329) * (0 : α)))
+  (⟨t4298, (atan2 (sqrt ((t4348 * t4348) + (t4374 * t4374))) ((((((((1 : α) * t70) + t90) + t89) * t15) + (((t95 + ((1 : α) * t71)) + t89) * t17)) + ((t99 + ((1 : α) * t72)) * t19)) + ((t99 + t89) * (0 : α)))), (atan2 ((((t4320 * (-t8)) + (t4324 * (t5 * t7))) + (t4327 * (t5 * t4))) + t4342) ((((t4320 * (t5 * t9)) + (t4324 * ((t8 * t13) + t10))) + (t4327 * ((t8 * t11) - t12))) + t4342))⟩, (273 : Int))
 
 /-- extracted from the C++ template at T = Sym; 1 path(s) -/
 def Euler.reorderToZYXr_XYX {α : Type} [Add α] [Sub α] [Mul α] [Neg α] [OfNat α 0] [OfNat α 1] (sqrt : α → α) (sin : α → α) (cos : α → α) (atan2 : α → α → α) (a : V3 α) : ((V3 α) × Int) :=
@@ -3095,68 +2434,49 @@ def Euler.reorderToZYXr_XYX {α : Type} [Add α] [Sub α] [Mul α] [Neg α] [OfN
   let t99 := (t95 + t90)
   let t100 := (t99 + ((1 : α) * t72))
   let t128 := ((t99 + t89) * (0 : α))
-  let t4085 := (t8 * t7)
-  let t4086 := (t8 * t4)
-  let t4087 := (t8 * t9)
-  let t4088 := (-t5)
-  let t4090 := ((t4088 * t13) + t10)
-  let t4092 := ((t4088 * t11) - t12)
-  let t4095 := ((t5 * t12) + t11)
-  let t4097 := ((t5 * t10) - t13)
-  let t4441 := (atan2 t4095 t4097)
-  let t4442 := (-t4441)
-  let t4443 := (cos t4442)
-  let t4444 := (sin t4442)
-  let t4447 := ((t72 * t4443) + ((t66 * t68) * t4444))
-  let t4450 := ((t66 * t4443) + ((t68 * t68) * t4444))
-  let t4451 := (t66 * t4444)
-  let t4459 := ((0 : α) * t4451)
-  let t4460 := ((0 : α) * t4450)
-  let t4463 := ((((1 : α) * t4447) + t4460) + t4459)
-  let t4465 := ((0 : α) * t4447)
-  let t4467 := ((t4465 + ((1 : α) * t4450)) + t4459)
-  let t4469 := (t4465 + t4460)
-  let t4470 := (t4469 + ((1 : α) * t4451))
-  let t4490 := ((((t93 * t5) + (t97 * t4085)) + (t100 * t4086)) + t128)
-  let t4496 := ((((t93 * t4087) + (t97 * t4090)) + (t100 * t4092)) + t128)
-  let t4503 := ((t4469 + t4459) * (0 : α))
-  (⟨(atan2 (-((((t4463 * t5) + (t4467 * t4085)) + (t4470 * t4086)) + t4503)) ((((t4463 * t4087) + (t4467 * t4090)) + (t4470 * t4092)) + t4503)), (atan2 (-((((t93 * ((-t8) * t6)) + (t97 * t4095)) + (t100 * t4097)) + t128)) (sqrt ((t4490 * t4490) + (t4496 * t4496)))), t4441⟩, (256 : Int))
+  let t4046 := (t8 * t9)
+  let t4047 := (-t5)
+  let t4054 := ((t5 * t12) + t11)
+  let t4056 := ((t5 * t10) - t13)
+  let t4449 := ((((t93 * t5) + (t97 * (t8 * t7))) + (t100 * (t8 * t4))) + t128)
+  let t4455 := ((((t93 * t4046) + (t97 * ((t4047 * t13) + t10))) + (t100 * ((t4047 * t11) - t12))) + t128)
+  (⟨(atan2 t4046 t5), (atan2 (-((((t93 * ((-t8) * t6)) + (t97 * t4054)) + (t100 * t4056)) + t128)) (sqrt ((t4449 * t4449) + (t4455 * t4455)))), (atan2 t4054 t4056)⟩, (256 : Int))
 
 /-- extracted from the C++ template at T = Sym; 1 path(s) -/
 def Euler.toMatrix33_YXY {α : Type} [Add α] [Sub α] [Mul α] [Neg α] [OfNat α 1] (sin : α → α) (cos : α → α) (a : V3 α) : (M33 α) :=
-  let t627 := (a.x * (-(1 : α)))
-  let t628 := (a.y * (-(1 : α)))
-  let t629 := (a.z * (-(1 : α)))
-  let t630 := (cos t627)
-  let t631 := (cos t628)
-  let t632 := (cos t629)
-  let t633 := (sin t627)
-  let t634 := (sin t628)
-  let t635 := (sin t629)
-  let t636 := (t630 * t632)
-  let t637 := (t630 * t635)
-  let t638 := (t633 * t632)
-  let t639 := (t633 * t635)
-  let t3580 := (-t631)
-  ⟨((t3580 * t639) + t636), (t634 * t633), ((t631 * t638) + t637), (t634 * t635), t631, ((-t634) * t632), ((t3580 * t637) - t638), (t634 * t630), ((t631 * t636) - t639)⟩
+  let t622 := (a.x * (-(1 : α)))
+  let t623 := (a.y * (-(1 : α)))
+  let t624 := (a.z * (-(1 : α)))
+  let t625 := (cos t622)
+  let t626 := (cos t623)
+  let t627 := (cos t624)
+  let t628 := (sin t622)
+  let t629 := (sin t623)
+  let t630 := (sin t624)
+  let t631 := (t625 * t627)
+  let t632 := (t625 * t630)
+  let t633 := (t628 * t627)
+  let t634 := (t628 * t630)
+  let t3540 := (-t626)
+  ⟨((t3540 * t634) + t631), (t629 * t628), ((t626 * t633) + t632), (t629 * t630), t626, ((-t629) * t627), ((t3540 * t632) - t633), (t629 * t625), ((t626 * t631) - t634)⟩
 
 /-- extracted from the C++ template at T = Sym; 1 path(s) -/
 def Euler.toMatrix44_YXY {α : Type} [Add α] [Sub α] [Mul α] [Neg α] [OfNat α 0] [OfNat α 1] (sin : α → α) (cos : α → α) (a : V3 α) : (M44 α) :=
-  let t627 := (a.x * (-(1 : α)))
-  let t628 := (a.y * (-(1 : α)))
-  let t629 := (a.z * (-(1 : α)))
-  let t630 := (cos t627)
-  let t631 := (cos t628)
-  let t632 := (cos t629)
-  let t633 := (sin t627)
-  let t634 := (sin t628)
-  let t635 := (sin t629)
-  let t636 := (t630 * t632)
-  let t637 := (t630 * t635)
-  let t638 := (t633 * t632)
-  let t639 := (t633 * t635)
-  let t3580 := (-t631)
-  ⟨((t3580 * t639) + t636), (t634 * t633), ((t631 * t638) + t637), (0 : α), (t634 * t635), t631, ((-t634) * t632), (0 : α), ((t3580 * t637) - t638), (t634 * t630), ((t631 * t636) - t639), (0 : α), (0 : α), (0 : α), (0 : α), (1 : α)⟩
+  let t622 := (a.x * (-(1 : α)))
+  let t623 := (a.y * (-(1 : α)))
+  let t624 := (a.z * (-(1 : α)))
+  let t625 := (cos t622)
+  let t626 := (cos t623)
+  let t627 := (cos t624)
+  let t628 := (sin t622)
+  let t629 := (sin t623)
+  let t630 := (sin t624)
+  let t631 := (t625 * t627)
+  let t632 := (t625 * t630)
+  let t633 := (t628 * t627)
+  let t634 := (t628 * t630)
+  let t3540 := (-t626)
+  ⟨((t3540 * t634) + t631), (t629 * t628), ((t626 * t633) + t632), (0 : α), (t629 * t630), t626, ((-t629) * t627), (0 : α), ((t3540 * t632) - t633), (t629 * t625), ((t626 * t631) - t634), (0 : α), (0 : α), (0 : α), (0 : α), (1 : α)⟩
 
 /-- extracted from the C++ template at T = Sym; 1 path(s) -/
 def Euler.toQuat_YXY {α : Type} [Add α] [Sub α] [Mul α] [Div α] [Neg α] [OfNat α 1] [OfNat α 2] (sin : α → α) (cos : α → α) (a : V3 α) : (Quat α) :=
@@ -3170,217 +2490,217 @@ def Euler.toQuat_YXY {α : Type} [Add α] [Sub α] [Mul α] [Div α] [Neg α] [O
   let t39 := (t32 * t37)
   let t40 := (t35 * t34)
   let t41 := (t35 * t37)
-  let t654 := ((-a.y) * ((1 : α) / (2 : α)))
-  let t655 := (cos t654)
-  let t656 := (sin t654)
-  ⟨(t655 * (t38 - t41)), ⟨((t656 * (t38 + t41)) * (-(1 : α))), (t655 * (t39 + t40)), (t656 * (t39 - t40))⟩⟩
+  let t649 := ((-a.y) * ((1 : α) / (2 : α)))
+  let t650 := (cos t649)
+  let t651 := (sin t649)
+  ⟨(t650 * (t38 - t41)), ⟨((t651 * (t38 + t41)) * (-(1 : α))), (t650 * (t39 + t40)), (t651 * (t39 - t40))⟩⟩
 
 /-- extracted from the C++ template at T = Sym; 1 path(s) -/
 def Euler.extractM33_YXY {α : Type} [Add α] [Mul α] [Neg α] [OfNat α 0] [OfNat α 1] (sqrt : α → α) (sin : α → α) (cos : α → α) (atan2 : α → α → α) (m : M33 α) : (V3 α) :=
   let t66 := (cos (0 : α))
   let t68 := (sin (0 : α))
   let t72 := (-t68)
-  let t4581 := (atan2 m.x01 m.x21)
-  let t4582 := (cos t4581)
-  let t4583 := (sin t4581)
-  let t4584 := (t66 * t4582)
-  let t4585 := (t68 * t4582)
-  let t4586 := (-t4583)
-  let t4587 := (t66 * t4583)
-  let t4589 := ((t72 * t66) + (t4587 * t68))
-  let t4590 := (t68 * t4583)
-  let t4592 := ((t66 * t66) + (t4590 * t68))
-  let t4593 := (t4582 * t68)
-  let t4595 := ((t72 * t72) + (t4587 * t66))
-  let t4597 := ((t66 * t72) + (t4590 * t66))
-  let t4598 := (t4582 * t66)
-  let t4599 := ((0 : α) * t4586)
-  let t4600 := ((0 : α) * t4585)
-  let t4603 := ((((1 : α) * t4584) + t4600) + t4599)
-  let t4605 := ((0 : α) * t4584)
-  let t4607 := ((t4605 + ((1 : α) * t4585)) + t4599)
-  let t4609 := (t4605 + t4600)
-  let t4610 := (t4609 + ((1 : α) * t4586))
-  let t4612 := ((0 : α) * t4593)
-  let t4613 := ((0 : α) * t4592)
-  let t4618 := ((0 : α) * t4589)
-  let t4622 := (t4618 + t4613)
-  let t4625 := ((0 : α) * t4598)
-  let t4626 := ((0 : α) * t4597)
-  let t4631 := ((0 : α) * t4595)
-  let t4635 := (t4631 + t4626)
-  let t4638 := ((t4609 + t4599) * (0 : α))
-  let t4650 := ((((t4603 * m.x01) + (t4607 * m.x11)) + (t4610 * m.x21)) + t4638)
-  let t4702 := ((((((((1 : α) * t4595) + t4626) + t4625) * m.x01) + (((t4631 + ((1 : α) * t4597)) + t4625) * m.x11)) + ((t4635 + ((1 : α) * t4598)) * m.x21)) + ((t4635 + t4625) * (0 : α)))
-  ⟨(t4581 * (-(1 : α))), ((atan2 (sqrt ((t4650 * t4650) + (t4702 * t4702))) ((((((((1 : α) * t4589) + t4613) + t4612) * m.x01) + (((t4618 + ((1 : α) * t4592)) + t4612) * m.x11)) + ((t4622 + ((1 : α) * t4593)) * m.x21)) + ((t4622 + t4612) * (0 : α)))) * (-(1 : α))), ((atan2 ((((t4603 * m.x02) + (t4607 * m.x12)) + (t4610 * m.x22)) + t4638) ((((t4603 * m.x00) + (t4607 * m.x10)) + (t4610 * m.x20)) + t4638)) * (-(1 : α)))⟩
+  let t4539 := (atan2 m.x01 m.x21)
+  let t4540 := (cos t4539)
+  let t4541 := (sin t4539)
+  let t4542 := (t66 * t4540)
+  let t4543 := (t68 * t4540)
+  let t4544 := (-t4541)
+  let t4545 := (t66 * t4541)
+  let t4547 := ((t72 * t66) + (t4545 * t68))
+  let t4548 := (t68 * t4541)
+  let t4550 := ((t66 * t66) + (t4548 * t68))
+  let t4551 := (t4540 * t68)
+  let t4553 := ((t72 * t72) + (t4545 * t66))
+  let t4555 := ((t66 * t72) + (t4548 * t66))
+  let t4556 := (t4540 * t66)
+  let t4557 := ((0 : α) * t4544)
+  let t4558 := ((0 : α) * t4543)
+  let t4561 := ((((1 : α) * t4542) + t4558) + t4557)
+  let t4563 := ((0 : α) * t4542)
+  let t4565 := ((t4563 + ((1 : α) * t4543)) + t4557)
+  let t4567 := (t4563 + t4558)
+  let t4568 := (t4567 + ((1 : α) * t4544))
+  let t4570 := ((0 : α) * t4551)
+  let t4571 := ((0 : α) * t4550)
+  let t4576 := ((0 : α) * t4547)
+  let t4580 := (t4576 + t4571)
+  let t4583 := ((0 : α) * t4556)
+  let t4584 := ((0 : α) * t4555)
+  let t4589 := ((0 : α) * t4553)
+  let t4593 := (t4589 + t4584)
+  let t4596 := ((t4567 + t4557) * (0 : α))
+  let t4608 := ((((t4561 * m.x01) + (t4565 * m.x11)) + (t4568 * m.x21)) + t4596)
+  let t4660 := ((((((((1 : α) * t4553) + t4584) + t4583) * m.x01) + (((t4589 + ((1 : α) * t4555)) + t4583) * m.x11)) + ((t4593 + ((1 : α) * t4556)) * m.x21)) + ((t4593 + t4583) * (0 : α)))
+  ⟨(t4539 * (-(1 : α))), ((atan2 (sqrt ((t4608 * t4608) + (t4660 * t4660))) ((((((((1 : α) * t4547) + t4571) + t4570) * m.x01) + (((t4576 + ((1 : α) * t4550)) + t4570) * m.x11)) + ((t4580 + ((1 : α) * t4551)) * m.x21)) + ((t4580 + t4570) * (0 : α)))) * (-(1 : α))), ((atan2 ((((t4561 * m.x02) + (t4565 * m.x12)) + (t4568 * m.x22)) + t4596) ((((t4561 * m.x00) + (t4565 * m.x10)) + (t4568 * m.x20)) + t4596)) * (-(1 : α)))⟩
 
 /-- extracted from the C++ template at T = Sym; 1 path(s) -/
 def Euler.extractM44_YXY {α : Type} [Add α] [Mul α] [Neg α] [OfNat α 0] [OfNat α 1] (sqrt : α → α) (sin : α → α) (cos : α → α) (atan2 : α → α → α) (m : M44 α) : (V3 α) :=
   let t66 := (cos (0 : α))
   let t68 := (sin (0 : α))
   let t72 := (-t68)
-  let t4581 := (atan2 m.x01 m.x21)
-  let t4582 := (cos t4581)
-  let t4583 := (sin t4581)
-  let t4584 := (t66 * t4582)
-  let t4585 := (t68 * t4582)
-  let t4586 := (-t4583)
-  let t4587 := (t66 * t4583)
-  let t4589 := ((t72 * t66) + (t4587 * t68))
-  let t4590 := (t68 * t4583)
-  let t4592 := ((t66 * t66) + (t4590 * t68))
-  let t4593 := (t4582 * t68)
-  let t4595 := ((t72 * t72) + (t4587 * t66))
-  let t4597 := ((t66 * t72) + (t4590 * t66))
-  let t4598 := (t4582 * t66)
-  let t4599 := ((0 : α) * t4586)
-  let t4600 := ((0 : α) * t4585)
-  let t4603 := ((((1 : α) * t4584) + t4600) + t4599)
-  let t4605 := ((0 : α) * t4584)
-  let t4607 := ((t4605 + ((1 : α) * t4585)) + t4599)
-  let t4609 := (t4605 + t4600)
-  let t4610 := (t4609 + ((1 : α) * t4586))
-  let t4611 := (t4609 + t4599)
-  let t4612 := ((0 : α) * t4593)
-  let t4613 := ((0 : α) * t4592)
-  let t4618 := ((0 : α) * t4589)
-  let t4622 := (t4618 + t4613)
-  let t4625 := ((0 : α) * t4598)
-  let t4626 := ((0 : α) * t4597)
-  let t4631 := ((0 : α) * t4595)
-  let t4635 := (t4631 + t4626)
-  let t4728 := ((((t4603 * m.x01) + (t4607 * m.x11)) + (t4610 * m.x21)) + (t4611 * m.x31))
-  let t4754 := ((((((((1 : α) * t4595) + t4626) + t4625) * m.x01) + (((t4631 + ((1 : α) * t4597)) + t4625) * m.x11)) + ((t4635 + ((1 : α) * t4598)) * m.x21)) + ((t4635 + t4625) * m.x31))
-  ⟨(t4581 * (-(1 : α))), ((atan2 (sqrt ((t4728 * t4728) + (t4754 * t4754))) ((((((((1 : α) * t4589) + t4613) + t4612) * m.x01) + (((t4618 + ((1 : α) * t4592)) + t4612) * m.x11)) + ((t4622 + ((1 : α) * t4593)) * m.x21)) + ((t4622 + t4612) * m.x31))) * (-(1 : α))), ((atan2 ((((t4603 * m.x02) + (t4607 * m.x12)) + (t4610 * m.x22)) + (t4611 * m.x32)) ((((t4603 * m.x00) + (t4607 * m.x10)) + (t4610 * m.x20)) + (t4611 * m.x30))) * (-(1 : α)))⟩
+  let t4539 := (atan2 m.x01 m.x21)
+  let t4540 := (cos t4539)
+  let t4541 := (sin t4539)
+  let t4542 := (t66 * t4540)
+  let t4543 := (t68 * t4540)
+  let t4544 := (-t4541)
+  let t4545 := (t66 * t4541)
+  let t4547 := ((t72 * t66) + (t4545 * t68))
+  let t4548 := (t68 * t4541)
+  let t4550 := ((t66 * t66) + (t4548 * t68))
+  let t4551 := (t4540 * t68)
+  let t4553 := ((t72 * t72) + (t4545 * t66))
+  let t4555 := ((t66 * t72) + (t4548 * t66))
+  let t4556 := (t4540 * t66)
+  let t4557 := ((0 : α) * t4544)
+  let t4558 := ((0 : α) * t4543)
+  let t4561 := ((((1 : α) * t4542) + t4558) + t4557)
+  let t4563 := ((0 : α) * t4542)
+  let t4565 := ((t4563 + ((1 : α) * t4543)) + t4557)
+  let t4567 := (t4563 + t4558)
+  let t4568 := (t4567 + ((1 : α) * t4544))
+  let t4569 := (t4567 + t4557)
+  let t4570 := ((0 : α) * t4551)
+  let t4571 := ((0 : α) * t4550)
+  let t4576 := ((0 : α) * t4547)
+  let t4580 := (t4576 + t4571)
+  let t4583 := ((0 : α) * t4556)
+  let t4584 := ((0 : α) * t4555)
+  let t4589 := ((0 : α) * t4553)
+  let t4593 := (t4589 + t4584)
+  let t4686 := ((((t4561 * m.x01) + (t4565 * m.x11)) + (t4568 * m.x21)) + (t4569 * m.x31))
+  let t4712 := ((((((((1 : α) * t4553) + t4584) + t4583) * m.x01) + (((t4589 + ((1 : α) * t4555)) + t4583) * m.x11)) + ((t4593 + ((1 : α) * t4556)) * m.x21)) + ((t4593 + t4583) * m.x31))
+  ⟨(t4539 * (-(1 : α))), ((atan2 (sqrt ((t4686 * t4686) + (t4712 * t4712))) ((((((((1 : α) * t4547) + t4571) + t4570) * m.x01) + (((t4576 + ((1 : α) * t4550)) + t4570) * m.x11)) + ((t4580 + ((1 : α) * t4551)) * m.x21)) + ((t4580 + t4570) * m.x31))) * (-(1 : α))), ((atan2 ((((t4561 * m.x02) + (t4565 * m.x12)) + (t4568 * m.x22)) + (t4569 * m.x32)) ((((t4561 * m.x00) + (t4565 * m.x10)) + (t4568 * m.x20)) + (t4569 * m.x30))) * (-(1 : α)))⟩
 
 /-- extracted from the C++ template at T = Sym; 1 path(s) -/
 def Euler.ctorM33_YXY {α : Type} [Add α] [Mul α] [Neg α] [OfNat α 0] [OfNat α 1] (sqrt : α → α) (sin : α → α) (cos : α → α) (atan2 : α → α → α) (m : M33 α) : ((V3 α) × Int) :=
   let t66 := (cos (0 : α))
   let t68 := (sin (0 : α))
   let t72 := (-t68)
-  let t4581 := (atan2 m.x01 m.x21)
-  let t4582 := (cos t4581)
-  let t4583 := (sin t4581)
-  let t4584 := (t66 * t4582)
-  let t4585 := (t68 * t4582)
-  let t4586 := (-t4583)
-  let t4587 := (t66 * t4583)
-  let t4589 := ((t72 * t66) + (t4587 * t68))
-  let t4590 := (t68 * t4583)
-  let t4592 := ((t66 * t66) + (t4590 * t68))
-  let t4593 := (t4582 * t68)
-  let t4595 := ((t72 * t72) + (t4587 * t66))
-  let t4597 := ((t66 * t72) + (t4590 * t66))
-  let t4598 := (t4582 * t66)
-  let t4599 := ((0 : α) * t4586)
-  let t4600 := ((0 : α) * t4585)
-  let t4603 := ((((1 : α) * t4584) + t4600) + t4599)
-  let t4605 := ((0 : α) * t4584)
-  let t4607 := ((t4605 + ((1 : α) * t4585)) + t4599)
-  let t4609 := (t4605 + t4600)
-  let t4610 := (t4609 + ((1 : α) * t4586))
-  let t4612 := ((0 : α) * t4593)
-  let t4613 := ((0 : α) * t4592)
-  let t4618 := ((0 : α) * t4589)
-  let t4622 := (t4618 + t4613)
-  let t4625 := ((0 : α) * t4598)
-  let t4626 := ((0 : α) * t4597)
-  let t4631 := ((0 : α) * t4595)
-  let t4635 := (t4631 + t4626)
-  let t4638 := ((t4609 + t4599) * (0 : α))
-  let t4650 := ((((t4603 * m.x01) + (t4607 * m.x11)) + (t4610 * m.x21)) + t4638)
-  let t4702 := ((((((((1 : α) * t4595) + t4626) + t4625) * m.x01) + (((t4631 + ((1 : α) * t4597)) + t4625) * m.x11)) + ((t4635 + ((1 : α) * t4598)) * m.x21)) + ((t4635 + t4625) * (0 : α)))
-  (⟨(t4581 * (-(1 : α))), ((atan2 (sqrt ((t4650 * t4650) + (t4702 * t4702))) ((((((((1 : α) * t4589) + t4613) + t4612) * m.x01) + (((t4618 + ((1 : α) * t4592)) + t4612) * m.x11)) + ((t4622 + ((1 : α) * t4593)) * m.x21)) + ((t4622 + t4612) * (0 : α)))) * (-(1 : α))), ((atan2 ((((t4603 * m.x02) + (t4607 * m.x12)) + (t4610 * m.x22)) + t4638) ((((t4603 * m.x00) + (t4607 * m.x10)) + (t4610 * m.x20)) + t4638)) * (-(1 : α)))⟩, (4113 : Int))
+  let t4539 := (atan2 m.x01 m.x21)
+  let t4540 := (cos t4539)
+  let t4541 := (sin t4539)
+  let t4542 := (t66 * t4540)
+  let t4543 := (t68 * t4540)
+  let t4544 := (-t4541)
+  let t4545 := (t66 * t4541)
+  let t4547 := ((t72 * t66) + (t4545 * t68))
+  let t4548 := (t68 * t4541)
+  let t4550 := ((t66 * t66) + (t4548 * t68))
+  let t4551 := (t4540 * t68)
+  let t4553 := ((t72 * t72) + (t4545 * t66))
+  let t4555 := ((t66 * t72) + (t4548 * t66))
+  let t4556 := (t4540 * t66)
+  let t4557 := ((0 : α) * t4544)
+  let t4558 := ((0 : α) * t4543)
+  let t4561 := ((((1 : α) * t4542) + t4558) + t4557)
+  let t4563 := ((0 : α) * t4542)
+  let t4565 := ((t4563 + ((1 : α) * t4543)) + t4557)
+  let t4567 := (t4563 + t4558)
+  let t4568 := (t4567 + ((1 : α) * t4544))
+  let t4570 := ((0 : α) * t4551)
+  let t4571 := ((0 : α) * t4550)
+  let t4576 := ((0 : α) * t4547)
+  let t4580 := (t4576 + t4571)
+  let t4583 := ((0 : α) * t4556)
+  let t4584 := ((0 : α) * t4555)
+  let t4589 := ((0 : α) * t4553)
+  let t4593 := (t4589 + t4584)
+  let t4596 := ((t4567 + t4557) * (0 : α))
+  let t4608 := ((((t4561 * m.x01) + (t4565 * m.x11)) + (t4568 * m.x21)) + t4596)
+  let t4660 := ((((((((1 : α) * t4553) + t4584) + t4583) * m.x01) + (((t4589 + ((1 : α) * t4555)) + t4583) * m.x11)) + ((t4593 + ((1 : α) * t4556)) * m.x21)) + ((t4593 + t4583) * (0 : α)))
+  (⟨(t4539 * (-(1 : α))), ((atan2 (sqrt ((t4608 * t4608) + (t4660 * t4660))) ((((((((1 : α) * t4547) + t4571) + t4570) * m.x01) + (((t4576 + ((1 : α) * t4550)) + t4570) * m.x11)) + ((t4580 + ((1 : α) * t4551)) * m.x21)) + ((t4580 + t4570) * (0 : α)))) * (-(1 : α))), ((atan2 ((((t4561 * m.x02) + (t4565 * m.x12)) + (t4568 * m.x22)) + t4596) ((((t4561 * m.x00) + (t4565 * m.x10)) + (t4568 * m.x20)) + t4596)) * (-(1 : α)))⟩, (4113 : Int))
 
 /-- extracted from the C++ template at T = Sym; 1 path(s) -/
 def Euler.ctorM44_YXY {α : Type} [Add α] [Mul α] [Neg α] [OfNat α 0] [OfNat α 1] (sqrt : α → α) (sin : α → α) (cos : α → α) (atan2 : α → α → α) (m : M44 α) : ((V3 α) × Int) :=
   let t66 := (cos (0 : α))
   let t68 := (sin (0 : α))
   let t72 := (-t68)
-  let t4581 := (atan2 m.x01 m.x21)
-  let t4582 := (cos t4581)
-  let t4583 := (sin t4581)
-  let t4584 := (t66 * t4582)
-  let t4585 := (t68 * t4582)
-  let t4586 := (-t4583)
-  let t4587 := (t66 * t4583)
-  let t4589 := ((t72 * t66) + (t4587 * t68))
-  let t4590 := (t68 * t4583)
-  let t4592 := ((t66 * t66) + (t4590 * t68))
-  let t4593 := (t4582 * t68)
-  let t4595 := ((t72 * t72) + (t4587 * t66))
-  let t4597 := ((t66 * t72) + (t4590 * t66))
-  let t4598 := (t4582 * t66)
-  let t4599 := ((0 : α) * t4586)
-  let t4600 := ((0 : α) * t4585)
-  let t4603 := ((((1 : α) * t4584) + t4600) + t4599)
-  let t4605 := ((0 : α) * t4584)
-  let t4607 := ((t4605 + ((1 : α) * t4585)) + t4599)
-  let t4609 := (t4605 + t4600)
-  let t4610 := (t4609 + ((1 : α) * t4586))
-  let t4611 := (t4609 + t4599)
-  let t4612 := ((0 : α) * t4593)
-  let t4613 := ((0 : α) * t4592)
-  let t4618 := ((0 : α) * t4589)
-  let t4622 := (t4618 + t4613)
-  let t4625 := ((0 : α) * t4598)
-  let t4626 := ((0 : α) * t4597)
-  let t4631 := ((0 : α) * t4595)
-  let t4635 := (t4631 + t4626)
-  let t4728 := ((((t4603 * m.x01) + (t4607 * m.x11)) + (t4610 * m.x21)) + (t4611 * m.x31))
-  let t4754 := ((((((((1 : α) * t4595) + t4626) + t4625) * m.x01) + (((t4631 + ((1 : α) * t4597)) + t4625) * m.x11)) + ((t4635 + ((1 : α) * t4598)) * m.x21)) + ((t4635 + t4625) * m.x31))
-  (⟨(t4581 * (-(1 : α))), ((atan2 (sqrt ((t4728 * t4728) + (t4754 * t4754))) ((((((((1 : α) * t4589) + t4613) + t4612) * m.x01) + (((t4618 + ((1 : α) * t4592)) + t4612) * m.x11)) + ((t4622 + ((1 : α) * t4593)) * m.x21)) + ((t4622 + t4612) * m.x31))) * (-(1 : α))), ((atan2 ((((t4603 * m.x02) + (t4607 * m.x12)) + (t4610 * m.x22)) + (t4611 * m.x32)) ((((t4603 * m.x00) + (t4607 * m.x10)) + (t4610 * m.x20)) + (t4611 * m.x30))) * (-(1 : α)))⟩, (4113 : Int))
+  let t4539 := (atan2 m.x01 m.x21)
+  let t4540 := (cos t4539)
+  let t4541 := (sin t4539)
+  let t4542 := (t66 * t4540)
+  let t4543 := (t68 * t4540)
+  let t4544 := (-t4541)
+  let t4545 := (t66 * t4541)
+  let t4547 := ((t72 * t66) + (t4545 * t68))
+  let t4548 := (t68 * t4541)
+  let t4550 := ((t66 * t66) + (t4548 * t68))
+  let t4551 := (t4540 * t68)
+  let t4553 := ((t72 * t72) + (t4545 * t66))
+  let t4555 := ((t66 * t72) + (t4548 * t66))
+  let t4556 := (t4540 * t66)
+  let t4557 := ((0 : α) * t4544)
+  let t4558 := ((0 : α) * t4543)
+  let t4561 := ((((1 : α) * t4542) + t4558) + t4557)
+  let t4563 := ((0 : α) * t4542)
+  let t4565 := ((t4563 + ((1 : α) * t4543)) + t4557)
+  let t4567 := (t4563 + t4558)
+  let t4568 := (t4567 + ((1 : α) * t4544))
+  let t4569 := (t4567 + t4557)
+  let t4570 := ((0 : α) * t4551)
+  let t4571 := ((0 : α) * t4550)
+  let t4576 := ((0 : α) * t4547)
+  let t4580 := (t4576 + t4571)
+  let t4583 := ((0 : α) * t4556)
+  let t4584 := ((0 : α) * t4555)
+  let t4589 := ((0 : α) * t4553)
+  let t4593 := (t4589 + t4584)
+  let t4686 := ((((t4561 * m.x01) + (t4565 * m.x11)) + (t4568 * m.x21)) + (t4569 * m.x31))
+  let t4712 := ((((((((1 : α) * t4553) + t4584) + t4583) * m.x01) + (((t4589 + ((1 : α) * t4555)) + t4583) * m.x11)) + ((t4593 + ((1 : α) * t4556)) * m.x21)) + ((t4593 + t4583) * m.x31))
+  (⟨(t4539 * (-(1 : α))), ((atan2 (sqrt ((t4686 * t4686) + (t4712 * t4712))) ((((((((1 : α) * t4547) + t4571) + t4570) * m.x01) + (((t4576 + ((1 : α) * t4550)) + t4570) * m.x11)) + ((t4580 + ((1 : α) * t4551)) * m.x21)) + ((t4580 + t4570) * m.x31))) * (-(1 : α))), ((atan2 ((((t4561 * m.x02) + (t4565 * m.x12)) + (t4568 * m.x22)) + (t4569 * m.x32)) ((((t4561 * m.x00) + (t4565 * m.x10)) + (t4568 * m.x20)) + (t4569 * m.x30))) * (-(1 : α)))⟩, (4113 : Int))
 
 /-- extracted from the C++ template at T = Sym; 1 path(s) -/
 def Euler.extractQuat_YXY {α : Type} [Add α] [Sub α] [Mul α] [Neg α] [OfNat α 0] [OfNat α 1] [OfNat α 2] (sqrt : α → α) (sin : α → α) (cos : α → α) (atan2 : α → α → α) (q : Quat α) : (V3 α) :=
   let t66 := (cos (0 : α))
   let t68 := (sin (0 : α))
   let t72 := (-t68)
-  let t309 := (q.v.x * q.v.x)
-  let t310 := (q.v.y * q.v.y)
-  let t315 := (q.v.x * q.r)
-  let t316 := (q.v.y * q.v.z)
-  let t318 := ((2 : α) * (t316 - t315))
-  let t319 := (q.v.y * q.r)
-  let t320 := (q.v.z * q.v.x)
-  let t325 := (q.v.z * q.v.z)
-  let t328 := ((1 : α) - ((2 : α) * (t325 + t309)))
-  let t329 := (q.v.z * q.r)
-  let t330 := (q.v.x * q.v.y)
-  let t336 := ((2 : α) * (t330 + t329))
-  let t4772 := (atan2 t336 t318)
-  let t4773 := (cos t4772)
-  let t4774 := (sin t4772)
-  let t4775 := (t66 * t4773)
-  let t4776 := (t68 * t4773)
-  let t4777 := (-t4774)
-  let t4778 := (t66 * t4774)
-  let t4780 := ((t72 * t66) + (t4778 * t68))
-  let t4781 := (t68 * t4774)
-  let t4783 := ((t66 * t66) + (t4781 * t68))
-  let t4784 := (t4773 * t68)
-  let t4786 := ((t72 * t72) + (t4778 * t66))
-  let t4788 := ((t66 * t72) + (t4781 * t66))
-  let t4789 := (t4773 * t66)
-  let t4790 := ((0 : α) * t4777)
-  let t4791 := ((0 : α) * t4776)
-  let t4794 := ((((1 : α) * t4775) + t4791) + t4790)
-  let t4796 := ((0 : α) * t4775)
-  let t4798 := ((t4796 + ((1 : α) * t4776)) + t4790)
-  let t4800 := (t4796 + t4791)
-  let t4801 := (t4800 + ((1 : α) * t4777))
-  let t4803 := ((0 : α) * t4784)
-  let t4804 := ((0 : α) * t4783)
-  let t4809 := ((0 : α) * t4780)
-  let t4813 := (t4809 + t4804)
-  let t4816 := ((0 : α) * t4789)
-  let t4817 := ((0 : α) * t4788)
-  let t4822 := ((0 : α) * t4786)
-  let t4826 := (t4822 + t4817)
-  let t4829 := ((t4800 + t4790) * (0 : α))
-  let t4841 := ((((t4794 * t336) + (t4798 * t328)) + (t4801 * t318)) + t4829)
-  let t4893 := ((((((((1 : α) * t4786) + t4817) + t4816) * t336) + (((t4822 + ((1 : α) * t4788)) + t4816) * t328)) + ((t4826 + ((1 : α) * t4789)) * t318)) + ((t4826 + t4816) * (0 : α)))
-  ⟨(t4772 * (-(1 : α))), ((atan2 (sqrt ((t4841 * t4841) + (t4893 * t4893))) ((((((((1 : α) * t4780) + t4804) + t4803) * t336) + (((t4809 + ((1 : α) * t4783)) + t4803) * t328)) + ((t4813 + ((1 : α) * t4784)) * t318)) + ((t4813 + t4803) * (0 : α)))) * (-(1 : α))), ((atan2 ((((t4794 * ((2 : α) * (t320 - t319))) + (t4798 * ((2 : α) * (t316 + t315)))) + (t4801 * ((1 : α) - ((2 : α) * (t310 + t309))))) + t4829) ((((t4794 * ((1 : α) - ((2 : α) * (t310 + t325)))) + (t4798 * ((2 : α) * (t330 - t329)))) + (t4801 * ((2 : α) * (t320 + t319)))) + t4829)) * (-(1 : α)))⟩
+  let t306 := (q.v.x * q.v.x)
+  let t307 := (q.v.y * q.v.y)
+  let t312 := (q.v.x * q.r)
+  let t313 := (q.v.y * q.v.z)
+  let t315 := ((2 : α) * (t313 - t312))
+  let t316 := (q.v.y * q.r)
+  let t317 := (q.v.z * q.v.x)
+  let t322 := (q.v.z * q.v.z)
+  let t325 := ((1 : α) - ((2 : α) * (t322 + t306)))
+  let t326 := (q.v.z * q.r)
+  let t327 := (q.v.x * q.v.y)
+  let t333 := ((2 : α) * (t327 + t326))
+  let t4730 := (atan2 t333 t315)
+  let t4731 := (cos t4730)
+  let t4732 := (sin t4730)
+  let t4733 := (t66 * t4731)
+  let t4734 := (t68 * t4731)
+  let t4735 := (-t4732)
+  let t4736 := (t66 * t4732)
+  let t4738 := ((t72 * t66) + (t4736 * t68))
+  let t4739 := (t68 * t4732)
+  let t4741 := ((t66 * t66) + (t4739 * t68))
+  let t4742 := (t4731 * t68)
+  let t4744 := ((t72 * t72) + (t4736 * t66))
+  let t4746 := ((t66 * t72) + (t4739 * t66))
+  let t4747 := (t4731 * t66)
+  let t4748 := ((0 : α) * t4735)
+  let t4749 := ((0 : α) * t4734)
+  let t4752 := ((((1 : α) * t4733) + t4749) + t4748)
+  let t4754 := ((0 : α) * t4733)
+  let t4756 := ((t4754 + ((1 : α) * t4734)) + t4748)
+  let t4758 := (t4754 + t4749)
+  let t4759 := (t4758 + ((1 : α) * t4735))
+  let t4761 := ((0 : α) * t4742)
+  let t4762 := ((0 : α) * t4741)
+  let t4767 := ((0 : α) * t4738)
+  let t4771 := (t4767 + t4762)
+  let t4774 := ((0 : α) * t4747)
+  let t4775 := ((0 : α) * t4746)
+  let t4780 := ((0 : α) * t4744)
+  let t4784 := (t4780 + t4775)
+  let t4787 := ((t4758 + t4748) * (0 : α))
+  let t4799 := ((((t4752 * t333) + (t4756 * t325)) + (t4759 * t315)) + t4787)
+  let t4851 := ((((((((1 : α) * t4744) + t4775) + t4774) * t333) + (((t4780 + ((1 : α) * t4746)) + t4774) * t325)) + ((t4784 + ((1 : α) * t4747)) * t315)) + ((t4784 + t4774) * (0 : α)))
+  ⟨(t4730 * (-(1 : α))), ((atan2 (sqrt ((t4799 * t4799) + (t4851 * t4851))) ((((((((1 : α) * t4738) + t4762) + t4761) * t333) + (((t4767 + ((1 : α) * t4741)) + t4761) * t325)) + ((t4771 + ((1 : α) * t4742)) * t315)) + ((t4771 + t4761) * (0 : α)))) * (-(1 : α))), ((atan2 ((((t4752 * ((2 : α) * (t317 - t316))) + (t4756 * ((2 : α) * (t313 + t312)))) + (t4759 * ((1 : α) - ((2 : α) * (t307 + t306))))) + t4787) ((((t4752 * ((1 : α) - ((2 : α) * (t307 + t322)))) + (t4756 * ((2 : α) * (t327 - t326)))) + (t4759 * ((2 : α) * (t317 + t316)))) + t4787)) * (-(1 : α)))⟩
 
 /-- extracted from the C++ template at T = Sym; 1 path(s) -/
 def Euler.ctorXYZLayout_YXY {α : Type} (v : V3 α) : ((V3 α) × Int) :=
@@ -3440,39 +2760,39 @@ def Euler.reorderFromXYZ_YXY {α : Type} [Add α] [Sub α] [Mul α] [Neg α] [Of
   let t66 := (cos (0 : α))
   let t68 := (sin (0 : α))
   let t72 := (-t68)
-  let t4916 := (atan2 t20 t24)
-  let t4917 := (cos t4916)
-  let t4918 := (sin t4916)
-  let t4919 := (t66 * t4917)
-  let t4920 := (t68 * t4917)
-  let t4921 := (-t4918)
-  let t4922 := (t66 * t4918)
-  let t4924 := ((t72 * t66) + (t4922 * t68))
-  let t4925 := (t68 * t4918)
-  let t4927 := ((t66 * t66) + (t4925 * t68))
-  let t4928 := (t4917 * t68)
-  let t4930 := ((t72 * t72) + (t4922 * t66))
-  let t4932 := ((t66 * t72) + (t4925 * t66))
-  let t4933 := (t4917 * t66)
-  let t4934 := ((0 : α) * t4921)
-  let t4935 := ((0 : α) * t4920)
-  let t4938 := ((((1 : α) * t4919) + t4935) + t4934)
-  let t4940 := ((0 : α) * t4919)
-  let t4942 := ((t4940 + ((1 : α) * t4920)) + t4934)
-  let t4944 := (t4940 + t4935)
-  let t4945 := (t4944 + ((1 : α) * t4921))
-  let t4947 := ((0 : α) * t4928)
-  let t4948 := ((0 : α) * t4927)
-  let t4953 := ((0 : α) * t4924)
-  let t4957 := (t4953 + t4948)
-  let t4960 := ((0 : α) * t4933)
-  let t4961 := ((0 : α) * t4932)
-  let t4966 := ((0 : α) * t4930)
-  let t4970 := (t4966 + t4961)
-  let t4973 := ((t4944 + t4934) * (0 : α))
-  let t4985 := ((((t4938 * t20) + (t4942 * t22)) + (t4945 * t24)) + t4973)
-  let t5037 := ((((((((1 : α) * t4930) + t4961) + t4960) * t20) + (((t4966 + ((1 : α) * t4932)) + t4960) * t22)) + ((t4970 + ((1 : α) * t4933)) * t24)) + ((t4970 + t4960) * (0 : α)))
-  (⟨(t4916 * (-(1 : α))), ((atan2 (sqrt ((t4985 * t4985) + (t5037 * t5037))) ((((((((1 : α) * t4924) + t4948) + t4947) * t20) + (((t4953 + ((1 : α) * t4927)) + t4947) * t22)) + ((t4957 + ((1 : α) * t4928)) * t24)) + ((t4957 + t4947) * (0 : α)))) * (-(1 : α))), ((atan2 ((((t4938 * (-t8)) + (t4942 * (t5 * t7))) + (t4945 * (t5 * t4))) + t4973) ((((t4938 * (t5 * t6)) + (t4942 * ((t8 * t12) - t11))) + (t4945 * ((t8 * t10) + t13))) + t4973)) * (-(1 : α)))⟩, (4113 : Int))
+  let t4874 := (atan2 t20 t24)
+  let t4875 := (cos t4874)
+  let t4876 := (sin t4874)
+  let t4877 := (t66 * t4875)
+  let t4878 := (t68 * t4875)
+  let t4879 := (-t4876)
+  let t4880 := (t66 * t4876)
+  let t4882 := ((t72 * t66) + (t4880 * t68))
+  let t4883 := (t68 * t4876)
+  let t4885 := ((t66 * t66) + (t4883 * t68))
+  let t4886 := (t4875 * t68)
+  let t4888 := ((t72 * t72) + (t4880 * t66))
+  let t4890 := ((t66 * t72) + (t4883 * t66))
+  let t4891 := (t4875 * t66)
+  let t4892 := ((0 : α) * t4879)
+  let t4893 := ((0 : α) * t4878)
+  let t4896 := ((((1 : α) * t4877) + t4893) + t4892)
+  let t4898 := ((0 : α) * t4877)
+  let t4900 := ((t4898 + ((1 : α) * t4878)) + t4892)
+  let t4902 := (t4898 + t4893)
+  let t4903 := (t4902 + ((1 : α) * t4879))
+  let t4905 := ((0 : α) * t4886)
+  let t4906 := ((0 : α) * t4885)
+  let t4911 := ((0 : α) * t4882)
+  let t4915 := (t4911 + t4906)
+  let t4918 := ((0 : α) * t4891)
+  let t4919 := ((0 : α) * t4890)
+  let t4924 := ((0 : α) * t4888)
+  let t4928 := (t4924 + t4919)
+  let t4931 := ((t4902 + t4892) * (0 : α))
+  let t4943 := ((((t4896 * t20) + (t4900 * t22)) + (t4903 * t24)) + t4931)
+  let t4995 := ((((((((1 : α) * t4888) + t4919) + t4918) * t20) + (((t4924 + ((1 : α) * t4890)) + t4918) * t22)) + ((t4928 + ((1 : α) * t4891)) * t24)) + ((t4928 + t4918) * (0 : α)))
+  (⟨(t4874 * (-(1 : α))), ((atan2 (sqrt ((t4943 * t4943) + (t4995 * t4995))) ((((((((1 : α) * t4882) + t4906) + t4905) * t20) + (((t4911 + ((1 : α) * t4885)) + t4905) * t22)) + ((t4915 + ((1 : α) * t4886)) * t24)) + ((t4915 + t4905) * (0 : α)))) * (-(1 : α))), ((atan2 ((((t4896 * (-t8)) + (t4900 * (t5 * t7))) + (t4903 * (t5 * t4))) + t4931) ((((t4896 * (t5 * t6)) + (t4900 * ((t8 * t12) - t11))) + (t4903 * ((t8 * t10) + t13))) + t4931)) * (-(1 : α)))⟩, (4113 : Int))
 
 /-- extracted from the C++ template at T = Sym; 1 path(s) -/
 def Euler.reorderToZYXr_YXY {α : Type} [Add α] [Sub α] [Mul α] [Neg α] [OfNat α 0] [OfNat α 1] (sqrt : α → α) (sin : α → α) (cos : α → α) (atan2 : α → α → α) (a : V3 α) : ((V3 α) × Int) :=
@@ -3489,45 +2809,27 @@ def Euler.reorderToZYXr_YXY {α : Type} [Add α] [Sub α] [Mul α] [Neg α] [OfN
   let t99 := (t95 + t90)
   let t100 := (t99 + ((1 : α) * t72))
   let t128 := ((t99 + t89) * (0 : α))
-  let t627 := (a.x * (-(1 : α)))
-  let t628 := (a.y * (-(1 : α)))
-  let t629 := (a.z * (-(1 : α)))
-  let t630 := (cos t627)
-  let t631 := (cos t628)
-  let t632 := (cos t629)
-  let t633 := (sin t627)
-  let t634 := (sin t628)
-  let t635 := (sin t629)
-  let t636 := (t630 * t632)
-  let t637 := (t630 * t635)
-  let t638 := (t633 * t632)
-  let t639 := (t633 * t635)
-  let t3577 := (t634 * t633)
-  let t3578 := (t634 * t630)
-  let t3579 := (t634 * t635)
-  let t3580 := (-t631)
-  let t3582 := ((t3580 * t639) + t636)
-  let t3584 := ((t3580 * t637) - t638)
-  let t3585 := ((-t634) * t632)
-  let t3589 := ((t631 * t636) - t639)
-  let t5060 := (atan2 t3585 t3589)
-  let t5061 := (-t5060)
-  let t5062 := (cos t5061)
-  let t5063 := (sin t5061)
-  let t5066 := ((t72 * t5062) + ((t66 * t68) * t5063))
-  let t5069 := ((t66 * t5062) + ((t68 * t68) * t5063))
-  let t5070 := (t66 * t5063)
-  let t5078 := ((0 : α) * t5070)
-  let t5079 := ((0 : α) * t5069)
-  let t5082 := ((((1 : α) * t5066) + t5079) + t5078)
-  let t5084 := ((0 : α) * t5066)
-  let t5086 := ((t5084 + ((1 : α) * t5069)) + t5078)
-  let t5088 := (t5084 + t5079)
-  let t5089 := (t5088 + ((1 : α) * t5070))
-  let t5109 := ((((t93 * t3582) + (t97 * t3579)) + (t100 * t3584)) + t128)
-  let t5115 := ((((t93 * t3577) + (t97 * t631)) + (t100 * t3578)) + t128)
-  let t5122 := ((t5088 + t5078) * (0 : α))
-  (⟨(atan2 (-((((t5082 * t3582) + (t5086 * t3579)) + (t5089 * t3584)) + t5122)) ((((t5082 * t3577) + (t5086 * t631)) + (t5089 * t3578)) + t5122)), (atan2 (-((((t93 * ((t631 * t638) + t637)) + (t97 * t3585)) + (t100 * t3589)) + t128)) (sqrt ((t5109 * t5109) + (t5115 * t5115)))), t5060⟩, (256 : Int))
+  let t622 := (a.x * (-(1 : α)))
+  let t623 := (a.y * (-(1 : α)))
+  let t624 := (a.z * (-(1 : α)))
+  let t625 := (cos t622)
+  let t626 := (cos t623)
+  let t627 := (cos t624)
+  let t628 := (sin t622)
+  let t629 := (sin t623)
+  let t630 := (sin t624)
+  let t631 := (t625 * t627)
+  let t632 := (t625 * t630)
+  let t633 := (t628 * t627)
+  let t634 := (t628 * t630)
+  let t3537 := (t629 * t628)
+  let t3540 := (-t626)
+  let t3542 := ((t3540 * t634) + t631)
+  let t3545 := ((-t629) * t627)
+  let t3549 := ((t626 * t631) - t634)
+  let t5067 := ((((t93 * t3542) + (t97 * (t629 * t630))) + (t100 * ((t3540 * t632) - t633))) + t128)
+  let t5073 := ((((t93 * t3537) + (t97 * t626)) + (t100 * (t629 * t625))) + t128)
+  (⟨(atan2 t3537 t3542), (atan2 (-((((t93 * ((t626 * t633) + t632)) + (t97 * t3545)) + (t100 * t3549)) + t128)) (sqrt ((t5067 * t5067) + (t5073 * t5073)))), (atan2 t3545 t3549)⟩, (256 : Int))
 
 /-- extracted from the C++ template at T = Sym; 1 path(s) -/
 def Euler.toMatrix33_YZY {α : Type} [Add α] [Sub α] [Mul α] [Neg α] (sin : α → α) (cos : α → α) (a : V3 α) : (M33 α) :=
@@ -3541,8 +2843,8 @@ def Euler.toMatrix33_YZY {α : Type} [Add α] [Sub α] [Mul α] [Neg α] (sin : 
   let t11 := (t4 * t9)
   let t12 := (t7 * t6)
   let t13 := (t7 * t9)
-  let t4088 := (-t5)
-  ⟨((t5 * t10) - t13), (t8 * t4), ((t4088 * t11) - t12), ((-t8) * t6), t5, (t8 * t9), ((t5 * t12) + t11), (t8 * t7), ((t4088 * t13) + t10)⟩
+  let t4047 := (-t5)
+  ⟨((t5 * t10) - t13), (t8 * t4), ((t4047 * t11) - t12), ((-t8) * t6), t5, (t8 * t9), ((t5 * t12) + t11), (t8 * t7), ((t4047 * t13) + t10)⟩
 
 /-- extracted from the C++ template at T = Sym; 1 path(s) -/
 def Euler.toMatrix44_YZY {α : Type} [Add α] [Sub α] [Mul α] [Neg α] [OfNat α 0] [OfNat α 1] (sin : α → α) (cos : α → α) (a : V3 α) : (M44 α) :=
@@ -3556,8 +2858,8 @@ def Euler.toMatrix44_YZY {α : Type} [Add α] [Sub α] [Mul α] [Neg α] [OfNat 
   let t11 := (t4 * t9)
   let t12 := (t7 * t6)
   let t13 := (t7 * t9)
-  let t4088 := (-t5)
-  ⟨((t5 * t10) - t13), (t8 * t4), ((t4088 * t11) - t12), (0 : α), ((-t8) * t6), t5, (t8 * t9), (0 : α), ((t5 * t12) + t11), (t8 * t7), ((t4088 * t13) + t10), (0 : α), (0 : α), (0 : α), (0 : α), (1 : α)⟩
+  let t4047 := (-t5)
+  ⟨((t5 * t10) - t13), (t8 * t4), ((t4047 * t11) - t12), (0 : α), ((-t8) * t6), t5, (t8 * t9), (0 : α), ((t5 * t12) + t11), (t8 * t7), ((t4047 * t13) + t10), (0 : α), (0 : α), (0 : α), (0 : α), (1 : α)⟩
 
 /-- extracted from the C++ template at T = Sym; 1 path(s) -/
 def Euler.toQuat_YZY {α : Type} [Add α] [Sub α] [Mul α] [Div α] [OfNat α 1] [OfNat α 2] (sin : α → α) (cos : α → α) (a : V3 α) : (Quat α) :=
@@ -3581,212 +2883,212 @@ def Euler.extractM33_YZY {α : Type} [Add α] [Mul α] [Neg α] [OfNat α 0] [Of
   let t66 := (cos (0 : α))
   let t68 := (sin (0 : α))
   let t72 := (-t68)
-  let t5191 := (atan2 m.x21 m.x01)
-  let t5192 := (-t5191)
-  let t5193 := (cos t5192)
-  let t5194 := (sin t5192)
-  let t5195 := (t66 * t5193)
-  let t5196 := (t68 * t5193)
-  let t5197 := (-t5194)
-  let t5198 := (t66 * t5194)
-  let t5200 := ((t72 * t66) + (t5198 * t68))
-  let t5201 := (t68 * t5194)
-  let t5203 := ((t66 * t66) + (t5201 * t68))
-  let t5204 := (t5193 * t68)
-  let t5206 := ((t72 * t72) + (t5198 * t66))
-  let t5208 := ((t66 * t72) + (t5201 * t66))
-  let t5209 := (t5193 * t66)
-  let t5210 := ((0 : α) * t5197)
-  let t5211 := ((0 : α) * t5196)
-  let t5216 := ((0 : α) * t5195)
-  let t5220 := (t5216 + t5211)
-  let t5223 := ((0 : α) * t5204)
-  let t5224 := ((0 : α) * t5203)
-  let t5229 := ((0 : α) * t5200)
-  let t5233 := (t5229 + t5224)
-  let t5236 := ((0 : α) * t5209)
-  let t5237 := ((0 : α) * t5208)
-  let t5240 := ((((1 : α) * t5206) + t5237) + t5236)
-  let t5242 := ((0 : α) * t5206)
-  let t5244 := ((t5242 + ((1 : α) * t5208)) + t5236)
-  let t5246 := (t5242 + t5237)
-  let t5247 := (t5246 + ((1 : α) * t5209))
-  let t5261 := ((((((((1 : α) * t5195) + t5211) + t5210) * m.x01) + (((t5216 + ((1 : α) * t5196)) + t5210) * m.x11)) + ((t5220 + ((1 : α) * t5197)) * m.x21)) + ((t5220 + t5210) * (0 : α)))
-  let t5301 := ((t5246 + t5236) * (0 : α))
-  let t5313 := ((((t5240 * m.x01) + (t5244 * m.x11)) + (t5247 * m.x21)) + t5301)
-  ⟨t5191, (atan2 (sqrt ((t5313 * t5313) + (t5261 * t5261))) ((((((((1 : α) * t5200) + t5224) + t5223) * m.x01) + (((t5229 + ((1 : α) * t5203)) + t5223) * m.x11)) + ((t5233 + ((1 : α) * t5204)) * m.x21)) + ((t5233 + t5223) * (0 : α)))), (atan2 ((((t5240 * m.x00) + (t5244 * m.x10)) + (t5247 * m.x20)) + t5301) ((((t5240 * m.x02) + (t5244 * m.x12)) + (t5247 * m.x22)) + t5301))⟩
+  let t5148 := (atan2 m.x21 m.x01)
+  let t5149 := (-t5148)
+  let t5150 := (cos t5149)
+  let t5151 := (sin t5149)
+  let t5152 := (t66 * t5150)
+  let t5153 := (t68 * t5150)
+  let t5154 := (-t5151)
+  let t5155 := (t66 * t5151)
+  let t5157 := ((t72 * t66) + (t5155 * t68))
+  let t5158 := (t68 * t5151)
+  let t5160 := ((t66 * t66) + (t5158 * t68))
+  let t5161 := (t5150 * t68)
+  let t5163 := ((t72 * t72) + (t5155 * t66))
+  let t5165 := ((t66 * t72) + (t5158 * t66))
+  let t5166 := (t5150 * t66)
+  let t5167 := ((0 : α) * t5154)
+  let t5168 := ((0 : α) * t5153)
+  let t5173 := ((0 : α) * t5152)
+  let t5177 := (t5173 + t5168)
+  let t5180 := ((0 : α) * t5161)
+  let t5181 := ((0 : α) * t5160)
+  let t5186 := ((0 : α) * t5157)
+  let t5190 := (t5186 + t5181)
+  let t5193 := ((0 : α) * t5166)
+  let t5194 := ((0 : α) * t5165)
+  let t5197 := ((((1 : α) * t5163) + t5194) + t5193)
+  let t5199 := ((0 : α) * t5163)
+  let t5201 := ((t5199 + ((1 : α) * t5165)) + t5193)
+  let t5203 := (t5199 + t5194)
+  let t5204 := (t5203 + ((1 : α) * t5166))
+  let t5218 := ((((((((1 : α) * t5152) + t5168) + t5167) * m.x01) + (((t5173 + ((1 : α) * t5153)) + t5167) * m.x11)) + ((t5177 + ((1 : α) * t5154)) * m.x21)) + ((t5177 + t5167) * (0 : α)))
+  let t5258 := ((t5203 + t5193) * (0 : α))
+  let t5270 := ((((t5197 * m.x01) + (t5201 * m.x11)) + (t5204 * m.x21)) + t5258)
+  ⟨t5148, (atan2 (sqrt ((t5270 * t5270) + (t5218 * t5218))) ((((((((1 : α) * t5157) + t5181) + t5180) * m.x01) + (((t5186 + ((1 : α) * t5160)) + t5180) * m.x11)) + ((t5190 + ((1 : α) * t5161)) * m.x21)) + ((t5190 + t5180) * (0 : α)))), (atan2 ((((t5197 * m.x00) + (t5201 * m.x10)) + (t5204 * m.x20)) + t5258) ((((t5197 * m.x02) + (t5201 * m.x12)) + (t5204 * m.x22)) + t5258))⟩
 
 /-- extracted from the C++ template at T = Sym; 1 path(s) -/
 def Euler.extractM44_YZY {α : Type} [Add α] [Mul α] [Neg α] [OfNat α 0] [OfNat α 1] (sqrt : α → α) (sin : α → α) (cos : α → α) (atan2 : α → α → α) (m : M44 α) : (V3 α) :=
   let t66 := (cos (0 : α))
   let t68 := (sin (0 : α))
   let t72 := (-t68)
-  let t5191 := (atan2 m.x21 m.x01)
-  let t5192 := (-t5191)
-  let t5193 := (cos t5192)
-  let t5194 := (sin t5192)
-  let t5195 := (t66 * t5193)
-  let t5196 := (t68 * t5193)
-  let t5197 := (-t5194)
-  let t5198 := (t66 * t5194)
-  let t5200 := ((t72 * t66) + (t5198 * t68))
-  let t5201 := (t68 * t5194)
-  let t5203 := ((t66 * t66) + (t5201 * t68))
-  let t5204 := (t5193 * t68)
-  let t5206 := ((t72 * t72) + (t5198 * t66))
-  let t5208 := ((t66 * t72) + (t5201 * t66))
-  let t5209 := (t5193 * t66)
-  let t5210 := ((0 : α) * t5197)
-  let t5211 := ((0 : α) * t5196)
-  let t5216 := ((0 : α) * t5195)
-  let t5220 := (t5216 + t5211)
-  let t5223 := ((0 : α) * t5204)
-  let t5224 := ((0 : α) * t5203)
-  let t5229 := ((0 : α) * t5200)
-  let t5233 := (t5229 + t5224)
-  let t5236 := ((0 : α) * t5209)
-  let t5237 := ((0 : α) * t5208)
-  let t5240 := ((((1 : α) * t5206) + t5237) + t5236)
-  let t5242 := ((0 : α) * t5206)
-  let t5244 := ((t5242 + ((1 : α) * t5208)) + t5236)
-  let t5246 := (t5242 + t5237)
-  let t5247 := (t5246 + ((1 : α) * t5209))
-  let t5248 := (t5246 + t5236)
-  let t5336 := ((((((((1 : α) * t5195) + t5211) + t5210) * m.x01) + (((t5216 + ((1 : α) * t5196)) + t5210) * m.x11)) + ((t5220 + ((1 : α) * t5197)) * m.x21)) + ((t5220 + t5210) * m.x31))
-  let t5362 := ((((t5240 * m.x01) + (t5244 * m.x11)) + (t5247 * m.x21)) + (t5248 * m.x31))
-  ⟨t5191, (atan2 (sqrt ((t5362 * t5362) + (t5336 * t5336))) ((((((((1 : α) * t5200) + t5224) + t5223) * m.x01) + (((t5229 + ((1 : α) * t5203)) + t5223) * m.x11)) + ((t5233 + ((1 : α) * t5204)) * m.x21)) + ((t5233 + t5223) * m.x31))), (atan2 ((((t5240 * m.x00) + (t5244 * m.x10)) + (t5247 * m.x20)) + (t5248 * m.x30)) ((((t5240 * m.x02) + (t5244 * m.x12)) + (t5247 * m.x22)) + (t5248 * m.x32)))⟩
+  let t5148 := (atan2 m.x21 m.x01)
+  let t5149 := (-t5148)
+  let t5150 := (cos t5149)
+  let t5151 := (sin t5149)
+  let t5152 := (t66 * t5150)
+  let t5153 := (t68 * t5150)
+  let t5154 := (-t5151)
+  let t5155 := (t66 * t5151)
+  let t5157 := ((t72 * t66) + (t5155 * t68))
+  let t5158 := (t68 * t5151)
+  let t5160 := ((t66 * t66) + (t5158 * t68))
+  let t5161 := (t5150 * t68)
+  let t5163 := ((t72 * t72) + (t5155 * t66))
+  let t5165 := ((t66 * t72) + (t5158 * t66))
+  let t5166 := (t5150 * t66)
+  let t5167 := ((0 : α) * t5154)
+  let t5168 := ((0 : α) * t5153)
+  let t5173 := ((0 : α) * t5152)
+  let t5177 := (t5173 + t5168)
+  let t5180 := ((0 : α) * t5161)
+  let t5181 := ((0 : α) * t5160)
+  let t5186 := ((0 : α) * t5157)
+  let t5190 := (t5186 + t5181)
+  let t5193 := ((0 : α) * t5166)
+  let t5194 := ((0 : α) * t5165)
+  let t5197 := ((((1 : α) * t5163) + t5194) + t5193)
+  let t5199 := ((0 : α) * t5163)
+  let t5201 := ((t5199 + ((1 : α) * t5165)) + t5193)
+  let t5203 := (t5199 + t5194)
+  let t5204 := (t5203 + ((1 : α) * t5166))
+  let t5205 := (t5203 + t5193)
+  let t5293 := ((((((((1 : α) * t5152) + t5168) + t5167) * m.x01) + (((t5173 + ((1 : α) * t5153)) + t5167) * m.x11)) + ((t5177 + ((1 : α) * t5154)) * m.x21)) + ((t5177 + t5167) * m.x31))
+  let t5319 := ((((t5197 * m.x01) + (t5201 * m.x11)) + (t5204 * m.x21)) + (t5205 * m.x31))
+  ⟨t5148, (atan2 (sqrt ((t5319 * t5319) + (t5293 * t5293))) ((((((((1 : α) * t5157) + t5181) + t5180) * m.x01) + (((t5186 + ((1 : α) * t5160)) + t5180) * m.x11)) + ((t5190 + ((1 : α) * t5161)) * m.x21)) + ((t5190 + t5180) * m.x31))), (atan2 ((((t5197 * m.x00) + (t5201 * m.x10)) + (t5204 * m.x20)) + (t5205 * m.x30)) ((((t5197 * m.x02) + (t5201 * m.x12)) + (t5204 * m.x22)) + (t5205 * m.x32)))⟩
 
 /-- extracted from the C++ template at T = Sym; 1 path(s) -/
 def Euler.ctorM33_YZY {α : Type} [Add α] [Mul α] [Neg α] [OfNat α 0] [OfNat α 1] (sqrt : α → α) (sin : α → α) (cos : α → α) (atan2 : α → α → α) (m : M33 α) : ((V3 α) × Int) :=
   let t66 := (cos (0 : α))
   let t68 := (sin (0 : α))
   let t72 := (-t68)
-  let t5191 := (atan2 m.x21 m.x01)
-  let t5192 := (-t5191)
-  let t5193 := (cos t5192)
-  let t5194 := (sin t5192)
-  let t5195 := (t66 * t5193)
-  let t5196 := (t68 * t5193)
-  let t5197 := (-t5194)
-  let t5198 := (t66 * t5194)
-  let t5200 := ((t72 * t66) + (t5198 * t68))
-  let t5201 := (t68 * t5194)
-  let t5203 := ((t66 * t66) + (t5201 * t68))
-  let t5204 := (t5193 * t68)
-  let t5206 := ((t72 * t72) + (t5198 * t66))
-  let t5208 := ((t66 * t72) + (t5201 * t66))
-  let t5209 := (t5193 * t66)
-  let t5210 := ((0 : α) * t5197)
-  let t5211 := ((0 : α) * t5196)
-  let t5216 := ((0 : α) * t5195)
-  let t5220 := (t5216 + t5211)
-  let t5223 := ((0 : α) * t5204)
-  let t5224 := ((0 : α) * t5203)
-  let t5229 := ((0 : α) * t5200)
-  let t5233 := (t5229 + t5224)
-  let t5236 := ((0 : α) * t5209)
-  let t5237 := ((0 : α) * t5208)
-  let t5240 := ((((1 : α) * t5206) + t5237) + t5236)
-  let t5242 := ((0 : α) * t5206)
-  let t5244 := ((t5242 + ((1 : α) * t5208)) + t5236)
-  let t5246 := (t5242 + t5237)
-  let t5247 := (t5246 + ((1 : α) * t5209))
-  let t5261 := ((((((((1 : α) * t5195) + t5211) + t5210) * m.x01) + (((t5216 + ((1 : α) * t5196)) + t5210) * m.x11)) + ((t5220 + ((1 : α) * t5197)) * m.x21)) + ((t5220 + t5210) * (0 : α)))
-  let t5301 := ((t5246 + t5236) * (0 : α))
-  let t5313 := ((((t5240 * m.x01) + (t5244 * m.x11)) + (t5247 * m.x21)) + t5301)
-  (⟨t5191, (atan2 (sqrt ((t5313 * t5313) + (t5261 * t5261))) ((((((((1 : α) * t5200) + t5224) + t5223) * m.x01) + (((t5229 + ((1 : α) * t5203)) + t5223) * m.x11)) + ((t5233 + ((1 : α) * t5204)) * m.x21)) + ((t5233 + t5223) * (0 : α)))), (atan2 ((((t5240 * m.x00) + (t5244 * m.x10)) + (t5247 * m.x20)) + t5301) ((((t5240 * m.x02) + (t5244 * m.x12)) + (t5247 * m.x22)) + t5301))⟩, (4369 : Int))
+  let t5148 := (atan2 m.x21 m.x01)
+  let t5149 := (-t5148)
+  let t5150 := (cos t5149)
+  let t5151 := (sin t5149)
+  let t5152 := (t66 * t5150)
+  let t5153 := (t68 * t5150)
+  let t5154 := (-t5151)
+  let t5155 := (t66 * t5151)
+  let t5157 := ((t72 * t66) + (t5155 * t68))
+  let t5158 := (t68 * t5151)
+  let t5160 := ((t66 * t66) + (t5158 * t68))
+  let t5161 := (t5150 * t68)
+  let t5163 := ((t72 * t72) + (t5155 * t66))
+  let t5165 := ((t66 * t72) + (t5158 * t66))
+  let t5166 := (t5150 * t66)
+  let t5167 := ((0 : α) * t5154)
+  let t5168 := ((0 : α) * t5153)
+  let t5173 := ((0 : α) * t5152)
+  let t5177 := (t5173 + t5168)
+  let t5180 := ((0 : α) * t5161)
+  let t5181 := ((0 : α) * t5160)
+  let t5186 := ((0 : α) * t5157)
+  let t5190 := (t5186 + t5181)
+  let t5193 := ((0 : α) * t5166)
+  let t5194 := ((0 : α) * t5165)
+  let t5197 := ((((1 : α) * t5163) + t5194) + t5193)
+  let t5199 := ((0 : α) * t5163)
+  let t5201 := ((t5199 + ((1 : α) * t5165)) + t5193)
+  let t5203 := (t5199 + t5194)
+  let t5204 := (t5203 + ((1 : α) * t5166))
+  let t5218 := ((((((((1 : α) * t5152) + t5168) + t5167) * m.x01) + (((t5173 + ((1 : α) * t5153)) + t5167) * m.x11)) + ((t5177 + ((1 : α) * t5154)) * m.x21)) + ((t5177 + t5167) * (0 : α)))
+  let t5258 := ((t5203 + t5193) * (0 : α))
+  let t5270 := ((((t5197 * m.x01) + (t5201 * m.x11)) + (t5204 * m.x21)) + t5258)
+  (⟨t5148, (atan2 (sqrt ((t5270 * t5270) + (t5218 * t5218))) ((((((((1 : α) * t5157) + t5181) + t5180) * m.x01) + (((t5186 + ((1 : α) * t5160)) + t5180) * m.x11)) + ((t5190 + ((1 : α) * t5161)) * m.x21)) + ((t5190 + t5180) * (0 : α)))), (atan2 ((((t5197 * m.x00) + (t5201 * m.x10)) + (t5204 * m.x20)) + t5258) ((((t5197 * m.x02) + (t5201 * m.x12)) + (t5204 * m.x22)) + t5258))⟩, (4369 : Int))
 
 /-- extracted from the C++ template at T = Sym; 1 path(s) -/
 def Euler.ctorM44_YZY {α : Type} [Add α] [Mul α] [Neg α] [OfNat α 0] [OfNat α 1] (sqrt : α → α) (sin : α → α) (cos : α → α) (atan2 : α → α → α) (m : M44 α) : ((V3 α) × Int) :=
   let t66 := (cos (0 : α))
   let t68 := (sin (0 : α))
   let t72 := (-t68)
-  let t5191 := (atan2 m.x21 m.x01)
-  let t5192 := (-t5191)
-  let t5193 := (cos t5192)
-  let t5194 := (sin t5192)
-  let t5195 := (t66 * t5193)
-  let t5196 := (t68 * t5193)
-  let t5197 := (-t5194)
-  let t5198 := (t66 * t5194)
-  let t5200 := ((t72 * t66) + (t5198 * t68))
-  let t5201 := (t68 * t5194)
-  let t5203 := ((t66 * t66) + (t5201 * t68))
-  let t5204 := (t5193 * t68)
-  let t5206 := ((t72 * t72) + (t5198 * t66))
-  let t5208 := ((t66 * t72) + (t5201 * t66))
-  let t5209 := (t5193 * t66)
-  let t5210 := ((0 : α) * t5197)
-  let t5211 := ((0 : α) * t5196)
-  let t5216 := ((0 : α) * t5195)
-  let t5220 := (t5216 + t5211)
-  let t5223 := ((0 : α) * t5204)
-  let t5224 := ((0 : α) * t5203)
-  let t5229 := ((0 : α) * t5200)
-  let t5233 := (t5229 + t5224)
-  let t5236 := ((0 : α) * t5209)
-  let t5237 := ((0 : α) * t5208)
-  let t5240 := ((((1 : α) * t5206) + t5237) + t5236)
-  let t5242 := ((0 : α) * t5206)
-  let t5244 := ((t5242 + ((1 : α) * t5208)) + t5236)
-  let t5246 := (t5242 + t5237)
-  let t5247 := (t5246 + ((1 : α) * t5209))
-  let t5248 := (t5246 + t5236)
-  let t5336 := ((((((((1 : α) * t5195) + t5211) + t5210) * m.x01) + (((t5216 + ((1 : α) * t5196)) + t5210) * m.x11)) + ((t5220 + ((1 : α) * t5197)) * m.x21)) + ((t5220 + t5210) * m.x31))
-  let t5362 := ((((t5240 * m.x01) + (t5244 * m.x11)) + (t5247 * m.x21)) + (t5248 * m.x31))
-  (⟨t5191, (atan2 (sqrt ((t5362 * t5362) + (t5336 * t5336))) ((((((((1 : α) * t5200) + t5224) + t5223) * m.x01) + (((t5229 + ((1 : α) * t5203)) + t5223) * m.x11)) + ((t5233 + ((1 : α) * t5204)) * m.x21)) + ((t5233 + t5223) * m.x31))), (atan2 ((((t5240 * m.x00) + (t5244 * m.x10)) + (t5247 * m.x20)) + (t5248 * m.x30)) ((((t5240 * m.x02) + (t5244 * m.x12)) + (t5247 * m.x22)) + (t5248 * m.x32)))⟩, (4369 : Int))
+  let t5148 := (atan2 m.x21 m.x01)
+  let t5149 := (-t5148)
+  let t5150 := (cos t5149)
+  let t5151 := (sin t5149)
+  let t5152 := (t66 * t5150)
+  let t5153 := (t68 * t5150)
+  let t5154 := (-t5151)
+  let t5155 := (t66 * t5151)
+  let t5157 := ((t72 * t66) + (t5155 * t68))
+  let t5158 := (t68 * t5151)
+  let t5160 := ((t66 * t66) + (t5158 * t68))
+  let t5161 := (t5150 * t68)
+  let t5163 := ((t72 * t72) + (t5155 * t66))
+  let t5165 := ((t66 * t72) + (t5158 * t66))
+  let t5166 := (t5150 * t66)
+  let t5167 := ((0 : α) * t5154)
+  let t5168 := ((0 : α) * t5153)
+  let t5173 := ((0 : α) * t5152)
+  let t5177 := (t5173 + t5168)
+  let t5180 := ((0 : α) * t5161)
+  let t5181 := ((0 : α) * t5160)
+  let t5186 := ((0 : α) * t5157)
+  let t5190 := (t5186 + t5181)
+  let t5193 := ((0 : α) * t5166)
+  let t5194 := ((0 : α) * t5165)
+  let t5197 := ((((1 : α) * t5163) + t5194) + t5193)
+  let t5199 := ((0 : α) * t5163)
+  let t5201 := ((t5199 + ((1 : α) * t5165)) + t5193)
+  let t5203 := (t5199 + t5194)
+  let t5204 := (t5203 + ((1 : α) * t5166))
+  let t5205 := (t5203 + t5193)
+  let t5293 := ((((((((1 : α) * t5152) + t5168) + t5167) * m.x01) + (((t5173 + ((1 : α) * t5153)) + t5167) * m.x11)) + ((t5177 + ((1 : α) * t5154)) * m.x21)) + ((t5177 + t5167) * m.x31))
+  let t5319 := ((((t5197 * m.x01) + (t5201 * m.x11)) + (t5204 * m.x21)) + (t5205 * m.x31))
+  (⟨t5148, (atan2 (sqrt ((t5319 * t5319) + (t5293 * t5293))) ((((((((1 : α) * t5157) + t5181) + t5180) * m.x01) + (((t5186 + ((1 : α) * t5160)) + t5180) * m.x11)) + ((t5190 + ((1 : α) * t5161)) * m.x21)) + ((t5190 + t5180) * m.x31))), (atan2 ((((t5197 * m.x00) + (t5201 * m.x10)) + (t5204 * m.x20)) + (t5205 * m.x30)) ((((t5197 * m.x02) + (t5201 * m.x12)) + (t5204 * m.x22)) + (t5205 * m.x32)))⟩, (4369 : Int))
 
 /-- extracted from the C++ template at T = Sym; 1 path(s) -/
 def Euler.extractQuat_YZY {α : Type} [Add α] [Sub α] [Mul α] [Neg α] [OfNat α 0] [OfNat α 1] [OfNat α 2] (sqrt : α → α) (sin : α → α) (cos : α → α) (atan2 : α → α → α) (q : Quat α) : (V3 α) :=
   let t66 := (cos (0 : α))
   let t68 := (sin (0 : α))
   let t72 := (-t68)
-  let t309 := (q.v.x * q.v.x)
-  let t310 := (q.v.y * q.v.y)
-  let t315 := (q.v.x * q.r)
-  let t316 := (q.v.y * q.v.z)
-  let t318 := ((2 : α) * (t316 - t315))
-  let t319 := (q.v.y * q.r)
-  let t320 := (q.v.z * q.v.x)
-  let t325 := (q.v.z * q.v.z)
-  let t328 := ((1 : α) - ((2 : α) * (t325 + t309)))
-  let t329 := (q.v.z * q.r)
-  let t330 := (q.v.x * q.v.y)
-  let t336 := ((2 : α) * (t330 + t329))
-  let t5378 := (atan2 t318 t336)
-  let t5379 := (-t5378)
-  let t5380 := (cos t5379)
-  let t5381 := (sin t5379)
-  let t5382 := (t66 * t5380)
-  let t5383 := (t68 * t5380)
-  let t5384 := (-t5381)
-  let t5385 := (t66 * t5381)
-  let t5387 := ((t72 * t66) + (t5385 * t68))
-  let t5388 := (t68 * t5381)
-  let t5390 := ((t66 * t66) + (t5388 * t68))
-  let t5391 := (t5380 * t68)
-  let t5393 := ((t72 * t72) + (t5385 * t66))
-  let t5395 := ((t66 * t72) + (t5388 * t66))
-  let t5396 := (t5380 * t66)
-  let t5397 := ((0 : α) * t5384)
-  let t5398 := ((0 : α) * t5383)
-  let t5403 := ((0 : α) * t5382)
-  let t5407 := (t5403 + t5398)
-  let t5410 := ((0 : α) * t5391)
-  let t5411 := ((0 : α) * t5390)
-  let t5416 := ((0 : α) * t5387)
-  let t5420 := (t5416 + t5411)
-  let t5423 := ((0 : α) * t5396)
-  let t5424 := ((0 : α) * t5395)
-  let t5427 := ((((1 : α) * t5393) + t5424) + t5423)
-  let t5429 := ((0 : α) * t5393)
-  let t5431 := ((t5429 + ((1 : α) * t5395)) + t5423)
-  let t5433 := (t5429 + t5424)
-  let t5434 := (t5433 + ((1 : α) * t5396))
-  let t5448 := ((((((((1 : α) * t5382) + t5398) + t5397) * t336) + (((t5403 + ((1 : α) * t5383)) + t5397) * t328)) + ((t5407 + ((1 : α) * t5384)) * t318)) + ((t5407 + t5397) * (0 : α)))
-  let t5488 := ((t5433 + t5423) * (0 : α))
-  let t5500 := ((((t5427 * t336) + (t5431 * t328)) + (t5434 * t318)) + t5488)
-  ⟨t5378, (atan2 (sqrt ((t5500 * t5500) + (t5448 * t5448))) ((((((((1 : α) * t5387) + t5411) + t5410) * t336) + (((t5416 + ((1 : α) * t5390)) + t5410) * t328)) + ((t5420 + ((1 : α) * t5391)) * t318)) + ((t5420 + t5410) * (0 : α)))), (atan2 ((((t5427 * ((1 : α) - ((2 : α) * (t310 + t325)))) + (t5431 * ((2 : α) * (t330 - t329)))) + (t5434 * ((2 : α) * (t320 + t319)))) + t5488) ((((t5427 * ((2 : α) * (t320 - t319))) + (t5431 * ((2 : α) * (t316 + t315)))) + (t5434 * ((1 : α) - ((2 : α) * (t310 + t309))))) + t5488))⟩
+  let t306 := (q.v.x * q.v.x)
+  let t307 := (q.v.y * q.v.y)
+  let t312 := (q.v.x * q.r)
+  let t313 := (q.v.y * q.v.z)
+  let t315 := ((2 : α) * (t313 - t312))
+  let t316 := (q.v.y * q.r)
+  let t317 := (q.v.z * q.v.x)
+  let t322 := (q.v.z * q.v.z)
+  let t325 := ((1 : α) - ((2 : α) * (t322 + t306)))
+  let t326 := (q.v.z * q.r)
+  let t327 := (q.v.x * q.v.y)
+  let t333 := ((2 : α) * (t327 + t326))
+  let t5335 := (atan2 t315 t333)
+  let t5336 := (-t5335)
+  let t5337 := (cos t5336)
+  let t5338 := (sin t5336)
+  let t5339 := (t66 * t5337)
+  let t5340 := (t68 * t5337)
+  let t5341 := (-t5338)
+  let t5342 := (t66 * t5338)
+  let t5344 := ((t72 * t66) + (t5342 * t68))
+  let t5345 := (t68 * t5338)
+  let t5347 := ((t66 * t66) + (t5345 * t68))
+  let t5348 := (t5337 * t68)
+  let t5350 := ((t72 * t72) + (t5342 * t66))
+  let t5352 := ((t66 * t72) + (t5345 * t66))
+  let t5353 := (t5337 * t66)
+  let t5354 := ((0 : α) * t5341)
+  let t5355 := ((0 : α) * t5340)
+  let t5360 := ((0 : α) * t5339)
+  let t5364 := (t5360 + t5355)
+  let t5367 := ((0 : α) * t5348)
+  let t5368 := ((0 : α) * t5347)
+  let t5373 := ((0 : α) * t5344)
+  let t5377 := (t5373 + t5368)
+  let t5380 := ((0 : α) * t5353)
+  let t5381 := ((0 : α) * t5352)
+  let t5384 := ((((1 : α) * t5350) + t5381) + t5380)
+  let t5386 := ((0 : α) * t5350)
+  let t5388 := ((t5386 + ((1 : α) * t5352)) + t5380)
+  let t5390 := (t5386 + t5381)
+  let t5391 := (t5390 + ((1 : α) * t5353))
+  let t5405 := ((((((((1 : α) * t5339) + t5355) + t5354) * t333) + (((t5360 + ((1 : α) * t5340)) + t5354) * t325)) + ((t5364 + ((1 : α) * t5341)) * t315)) + ((t5364 + t5354) * (0 : α)))
+  let t5445 := ((t5390 + t5380) * (0 : α))
+  let t5457 := ((((t5384 * t333) + (t5388 * t325)) + (t5391 * t315)) + t5445)
+  ⟨t5335, (atan2 (sqrt ((t5457 * t5457) + (t5405 * t5405))) ((((((((1 : α) * t5344) + t5368) + t5367) * t333) + (((t5373 + ((1 : α) * t5347)) + t5367) * t325)) + ((t5377 + ((1 : α) * t5348)) * t315)) + ((t5377 + t5367) * (0 : α)))), (atan2 ((((t5384 * ((1 : α) - ((2 : α) * (t307 + t322)))) + (t5388 * ((2 : α) * (t327 - t326)))) + (t5391 * ((2 : α) * (t317 + t316)))) + t5445) ((((t5384 * ((2 : α) * (t317 - t316))) + (t5388 * ((2 : α) * (t313 + t312)))) + (t5391 * ((1 : α) - ((2 : α) * (t307 + t306))))) + t5445))⟩
 
 /-- extracted from the C++ template at T = Sym; 1 path(s) -/
 def Euler.ctorXYZLayout_YZY {α : Type} (v : V3 α) : ((V3 α) × Int) :=
@@ -3846,40 +3148,40 @@ def Euler.reorderFromXYZ_YZY {α : Type} [Add α] [Sub α] [Mul α] [Neg α] [Of
   let t66 := (cos (0 : α))
   let t68 := (sin (0 : α))
   let t72 := (-t68)
-  let t5520 := (atan2 t24 t20)
-  let t5521 := (-t5520)
-  let t5522 := (cos t5521)
-  let t5523 := (sin t5521)
-  let t5524 := (t66 * t5522)
-  let t5525 := (t68 * t5522)
-  let t5526 := (-t5523)
-  let t5527 := (t66 * t5523)
-  let t5529 := ((t72 * t66) + (t5527 * t68))
-  let t5530 := (t68 * t5523)
-  let t5532 := ((t66 * t66) + (t5530 * t68))
-  let t5533 := (t5522 * t68)
-  let t5535 := ((t72 * t72) + (t5527 * t66))
-  let t5537 := ((t66 * t72) + (t5530 * t66))
-  let t5538 := (t5522 * t66)
-  let t5539 := ((0 : α) * t5526)
-  let t5540 := ((0 : α) * t5525)
-  let t5545 := ((0 : α) * t5524)
-  let t5549 := (t5545 + t5540)
-  let t5552 := ((0 : α) * t5533)
-  let t5553 := ((0 : α) * t5532)
-  let t5558 := ((0 : α) * t5529)
-  let t5562 := (t5558 + t5553)
-  let t5565 := ((0 : α) * t5538)
-  let t5566 := ((0 : α) * t5537)
-  let t5569 := ((((1 : α) * t5535) + t5566) + t5565)
-  let t5571 := ((0 : α) * t5535)
-  let t5573 := ((t5571 + ((1 : α) * t5537)) + t5565)
-  let t5575 := (t5571 + t5566)
-  let t5576 := (t5575 + ((1 : α) * t5538))
-  let t5590 := ((((((((1 : α) * t5524) + t5540) + t5539) * t20) + (((t5545 + ((1 : α) * t5525)) + t5539) * t22)) + ((t5549 + ((1 : α) * t5526)) * t24)) + ((t5549 + t5539) * (0 : α)))
-  let t5630 := ((t5575 + t5565) * (0 : α))
-  let t5642 := ((((t5569 * t20) + (t5573 * t22)) + (t5576 * t24)) + t5630)
-  (⟨t5520, (atan2 (sqrt ((t5642 * t5642) + (t5590 * t5590))) ((((((((1 : α) * t5529) + t5553) + t5552) * t20) + (((t5558 + ((1 : α) * t5532)) + t5552) * t22)) + ((t5562 + ((1 : α) * t5533)) * t24)) + ((t5562 + t5552) * (0 : α)))), (atan2 ((((t5569 * (t5 * t6)) + (t5573 * ((t8 * t12) - t11))) + (t5576 * ((t8 * t10) + t13))) + t5630) ((((t5569 * (-t8)) + (t5573 * (t5 * t7))) + (t5576 * (t5 * t4))) + t5630))⟩, (4369 : Int))
+  let t5477 := (atan2 t24 t20)
+  let t5478 := (-t5477)
+  let t5479 := (cos t5478)
+  let t5480 := (sin t5478)
+  let t5481 := (t66 * t5479)
+  let t5482 := (t68 * t5479)
+  let t5483 := (-t5480)
+  let t5484 := (t66 * t5480)
+  let t5486 := ((t72 * t66) + (t5484 * t68))
+  let t5487 := (t68 * t5480)
+  let t5489 := ((t66 * t66) + (t5487 * t68))
+  let t5490 := (t5479 * t68)
+  let t5492 := ((t72 * t72) + (t5484 * t66))
+  let t5494 := ((t66 * t72) + (t5487 * t66))
+  let t5495 := (t5479 * t66)
+  let t5496 := ((0 : α) * t5483)
+  let t5497 := ((0 : α) * t5482)
+  let t5502 := ((0 : α) * t5481)
+  let t5506 := (t5502 + t5497)
+  let t5509 := ((0 : α) * t5490)
+  let t5510 := ((0 : α) * t5489)
+  let t5515 := ((0 : α) * t5486)
+  let t5519 := (t5515 + t5510)
+  let t5522 := ((0 : α) * t5495)
+  let t5523 := ((0 : α) * t5494)
+  let t5526 := ((((1 : α) * t5492) + t5523) + t5522)
+  let t5528 := ((0 : α) * t5492)
+  let t5530 := ((t5528 + ((1 : α) * t5494)) + t5522)
+  let t5532 := (t5528 + t5523)
+  let t5533 := (t5532 + ((1 : α) * t5495))
+  let t5547 := ((((((((1 : α) * t5481) + t5497) + t5496) * t20) + (((t5502 + ((1 : α) * t5482)) + t5496) * t22)) + ((t5506 + ((1 : α) * t5483)) * t24)) + ((t5506 + t5496) * (0 : α)))
+  let t5587 := ((t5532 + t5522) * (0 : α))
+  let t5599 := ((((t5526 * t20) + (t5530 * t22)) + (t5533 * t24)) + t5587)
+  (⟨t5477, (atan2 (sqrt ((t5599 * t5599) + (t5547 * t5547))) ((((((((1 : α) * t5486) + t5510) + t5509) * t20) + (((t5515 + ((1 : α) * t5489)) + t5509) * t22)) + ((t5519 + ((1 : α) * t5490)) * t24)) + ((t5519 + t5509) * (0 : α)))), (atan2 ((((t5526 * (t5 * t6)) + (t5530 * ((t8 * t12) - t11))) + (t5533 * ((t8 * t10) + t13))) + t5587) ((((t5526 * (-t8)) + (t5530 * (t5 * t7))) + (t5533 * (t5 * t4))) + t5587))⟩, (4369 : Int))
 
 /-- extracted from the C++ template at T = Sym; 1 path(s) -/
 def Euler.reorderToZYXr_YZY {α : Type} [Add α] [Sub α] [Mul α] [Neg α] [OfNat α 0] [OfNat α 1] (sqrt : α → α) (sin : α → α) (cos : α → α) (atan2 : α → α → α) (a : V3 α) : ((V3 α) × Int) :=
@@ -3906,68 +3208,50 @@ def Euler.reorderToZYXr_YZY {α : Type} [Add α] [Sub α] [Mul α] [Neg α] [OfN
   let t99 := (t95 + t90)
   let t100 := (t99 + ((1 : α) * t72))
   let t128 := ((t99 + t89) * (0 : α))
-  let t4085 := (t8 * t7)
-  let t4086 := (t8 * t4)
-  let t4087 := (t8 * t9)
-  let t4088 := (-t5)
-  let t4090 := ((t4088 * t13) + t10)
-  let t4093 := ((-t8) * t6)
-  let t4095 := ((t5 * t12) + t11)
-  let t4097 := ((t5 * t10) - t13)
-  let t5662 := (atan2 t4087 t4090)
-  let t5663 := (-t5662)
-  let t5664 := (cos t5663)
-  let t5665 := (sin t5663)
-  let t5668 := ((t72 * t5664) + ((t66 * t68) * t5665))
-  let t5671 := ((t66 * t5664) + ((t68 * t68) * t5665))
-  let t5672 := (t66 * t5665)
-  let t5680 := ((0 : α) * t5672)
-  let t5681 := ((0 : α) * t5671)
-  let t5684 := ((((1 : α) * t5668) + t5681) + t5680)
-  let t5686 := ((0 : α) * t5668)
-  let t5688 := ((t5686 + ((1 : α) * t5671)) + t5680)
-  let t5690 := (t5686 + t5681)
-  let t5691 := (t5690 + ((1 : α) * t5672))
-  let t5711 := ((((t93 * t4097) + (t97 * t4093)) + (t100 * t4095)) + t128)
-  let t5717 := ((((t93 * t4086) + (t97 * t5)) + (t100 * t4085)) + t128)
-  let t5724 := ((t5690 + t5680) * (0 : α))
-  (⟨(atan2 (-((((t5684 * t4097) + (t5688 * t4093)) + (t5691 * t4095)) + t5724)) ((((t5684 * t4086) + (t5688 * t5)) + (t5691 * t4085)) + t5724)), (atan2 (-((((t93 * ((t4088 * t11) - t12)) + (t97 * t4087)) + (t100 * t4090)) + t128)) (sqrt ((t5711 * t5711) + (t5717 * t5717)))), t5662⟩, (256 : Int))
+  let t4045 := (t8 * t4)
+  let t4046 := (t8 * t9)
+  let t4047 := (-t5)
+  let t4049 := ((t4047 * t13) + t10)
+  let t4056 := ((t5 * t10) - t13)
+  let t5668 := ((((t93 * t4056) + (t97 * ((-t8) * t6))) + (t100 * ((t5 * t12) + t11))) + t128)
+  let t5674 := ((((t93 * t4045) + (t97 * t5)) + (t100 * (t8 * t7))) + t128)
+  (⟨(atan2 t4045 t4056), (atan2 (-((((t93 * ((t4047 * t11) - t12)) + (t97 * t4046)) + (t100 * t4049)) + t128)) (sqrt ((t5668 * t5668) + (t5674 * t5674)))), (atan2 t4046 t4049)⟩, (256 : Int))
 
 /-- extracted from the C++ template at T = Sym; 1 path(s) -/
 def Euler.toMatrix33_ZYZ {α : Type} [Add α] [Sub α] [Mul α] [Neg α] [OfNat α 1] (sin : α → α) (cos : α → α) (a : V3 α) : (M33 α) :=
-  let t627 := (a.x * (-(1 : α)))
-  let t628 := (a.y * (-(1 : α)))
-  let t629 := (a.z * (-(1 : α)))
-  let t630 := (cos t627)
-  let t631 := (cos t628)
-  let t632 := (cos t629)
-  let t633 := (sin t627)
-  let t634 := (sin t628)
-  let t635 := (sin t629)
-  let t636 := (t630 * t632)
-  let t637 := (t630 * t635)
-  let t638 := (t633 * t632)
-  let t639 := (t633 * t635)
-  let t3580 := (-t631)
-  ⟨((t631 * t636) - t639), ((t3580 * t637) - t638), (t634 * t630), ((t631 * t638) + t637), ((t3580 * t639) + t636), (t634 * t633), ((-t634) * t632), (t634 * t635), t631⟩
+  let t622 := (a.x * (-(1 : α)))
+  let t623 := (a.y * (-(1 : α)))
+  let t624 := (a.z * (-(1 : α)))
+  let t625 := (cos t622)
+  let t626 := (cos t623)
+  let t627 := (cos t624)
+  let t628 := (sin t622)
+  let t629 := (sin t623)
+  let t630 := (sin t624)
+  let t631 := (t625 * t627)
+  let t632 := (t625 * t630)
+  let t633 := (t628 * t627)
+  let t634 := (t628 * t630)
+  let t3540 := (-t626)
+  ⟨((t626 * t631) - t634), ((t3540 * t632) - t633), (t629 * t625), ((t626 * t633) + t632), ((t3540 * t634) + t631), (t629 * t628), ((-t629) * t627), (t629 * t630), t626⟩
 
 /-- extracted from the C++ template at T = Sym; 1 path(s) -/
 def Euler.toMatrix44_ZYZ {α : Type} [Add α] [Sub α] [Mul α] [Neg α] [OfNat α 0] [OfNat α 1] (sin : α → α) (cos : α → α) (a : V3 α) : (M44 α) :=
-  let t627 := (a.x * (-(1 : α)))
-  let t628 := (a.y * (-(1 : α)))
-  let t629 := (a.z * (-(1 : α)))
-  let t630 := (cos t627)
-  let t631 := (cos t628)
-  let t632 := (cos t629)
-  let t633 := (sin t627)
-  let t634 := (sin t628)
-  let t635 := (sin t629)
-  let t636 := (t630 * t632)
-  let t637 := (t630 * t635)
-  let t638 := (t633 * t632)
-  let t639 := (t633 * t635)
-  let t3580 := (-t631)
-  ⟨((t631 * t636) - t639), ((t3580 * t637) - t638), (t634 * t630), (0 : α), ((t631 * t638) + t637), ((t3580 * t639) + t636), (t634 * t633), (0 : α), ((-t634) * t632), (t634 * t635), t631, (0 : α), (0 : α), (0 : α), (0 : α), (1 : α)⟩
+  let t622 := (a.x * (-(1 : α)))
+  let t623 := (a.y * (-(1 : α)))
+  let t624 := (a.z * (-(1 : α)))
+  let t625 := (cos t622)
+  let t626 := (cos t623)
+  let t627 := (cos t624)
+  let t628 := (sin t622)
+  let t629 := (sin t623)
+  let t630 := (sin t624)
+  let t631 := (t625 * t627)
+  let t632 := (t625 * t630)
+  let t633 := (t628 * t627)
+  let t634 := (t628 * t630)
+  let t3540 := (-t626)
+  ⟨((t626 * t631) - t634), ((t3540 * t632) - t633), (t629 * t625), (0 : α), ((t626 * t633) + t632), ((t3540 * t634) + t631), (t629 * t628), (0 : α), ((-t629) * t627), (t629 * t630), t626, (0 : α), (0 : α), (0 : α), (0 : α), (1 : α)⟩
 
 /-- extracted from the C++ template at T = Sym; 1 path(s) -/
 def Euler.toQuat_ZYZ {α : Type} [Add α] [Sub α] [Mul α] [Div α] [Neg α] [OfNat α 1] [OfNat α 2] (sin : α → α) (cos : α → α) (a : V3 α) : (Quat α) :=
@@ -3981,10 +3265,10 @@ def Euler.toQuat_ZYZ {α : Type} [Add α] [Sub α] [Mul α] [Div α] [Neg α] [O
   let t39 := (t32 * t37)
   let t40 := (t35 * t34)
   let t41 := (t35 * t37)
-  let t654 := ((-a.y) * ((1 : α) / (2 : α)))
-  let t655 := (cos t654)
-  let t656 := (sin t654)
-  ⟨(t655 * (t38 - t41)), ⟨(t656 * (t39 - t40)), ((t656 * (t38 + t41)) * (-(1 : α))), (t655 * (t39 + t40))⟩⟩
+  let t649 := ((-a.y) * ((1 : α) / (2 : α)))
+  let t650 := (cos t649)
+  let t651 := (sin t649)
+  ⟨(t650 * (t38 - t41)), ⟨(t651 * (t39 - t40)), ((t651 * (t38 + t41)) * (-(1 : α))), (t650 * (t39 + t40))⟩⟩
 
 /-- extracted from the C++ template at T = Sym; 1 path(s) -/
 def Euler.extractM33_ZYZ {α : Type} [Add α] [Mul α] [Neg α] [OfNat α 0] [OfNat α 1] (sqrt : α → α) (sin : α → α) (cos : α → α) (atan2 : α → α → α) (m : M33 α) : (V3 α) :=
@@ -3995,35 +3279,35 @@ def Euler.extractM33_ZYZ {α : Type} [Add α] [Mul α] [Neg α] [OfNat α 0] [Of
   let t73 := (t66 * t68)
   let t89 := ((0 : α) * t72)
   let t95 := ((0 : α) * t70)
-  let t2422 := ((0 : α) * t73)
-  let t5793 := (atan2 m.x12 m.x02)
-  let t5794 := (cos t5793)
-  let t5795 := (sin t5793)
-  let t5796 := (t5794 * t66)
-  let t5797 := (t5795 * t66)
-  let t5798 := (t5794 * t68)
-  let t5800 := (-t5795)
-  let t5802 := ((t5800 * t66) + (t5798 * t68))
-  let t5803 := (t5795 * t68)
-  let t5805 := (t5796 + (t5803 * t68))
-  let t5808 := ((t5800 * t72) + (t5798 * t66))
-  let t5811 := ((t5794 * t72) + (t5803 * t66))
-  let t5812 := ((0 : α) * t5797)
-  let t5817 := ((0 : α) * t5796)
-  let t5820 := (t5817 + t5812)
-  let t5823 := ((0 : α) * t5805)
-  let t5826 := ((((1 : α) * t5802) + t5823) + t2422)
-  let t5828 := ((0 : α) * t5802)
-  let t5830 := ((t5828 + ((1 : α) * t5805)) + t2422)
-  let t5831 := (t5828 + t5823)
-  let t5832 := (t5831 + ((1 : α) * t73))
-  let t5834 := ((0 : α) * t5811)
-  let t5839 := ((0 : α) * t5808)
-  let t5842 := (t5839 + t5834)
-  let t5863 := ((((((((1 : α) * t5796) + t5812) + t89) * m.x02) + (((t5817 + ((1 : α) * t5797)) + t89) * m.x12)) + ((t5820 + ((1 : α) * t72)) * m.x22)) + ((t5820 + t89) * (0 : α)))
-  let t5871 := ((t5831 + t2422) * (0 : α))
-  let t5889 := ((((t5826 * m.x02) + (t5830 * m.x12)) + (t5832 * m.x22)) + t5871)
-  ⟨(t5793 * (-(1 : α))), ((atan2 (sqrt ((t5889 * t5889) + (t5863 * t5863))) ((((((((1 : α) * t5808) + t5834) + t95) * m.x02) + (((t5839 + ((1 : α) * t5811)) + t95) * m.x12)) + ((t5842 + ((1 : α) * t70)) * m.x22)) + ((t5842 + t95) * (0 : α)))) * (-(1 : α))), ((atan2 ((((t5826 * m.x00) + (t5830 * m.x10)) + (t5832 * m.x20)) + t5871) ((((t5826 * m.x01) + (t5830 * m.x11)) + (t5832 * m.x21)) + t5871)) * (-(1 : α)))⟩
+  let t2397 := ((0 : α) * t73)
+  let t5749 := (atan2 m.x12 m.x02)
+  let t5750 := (cos t5749)
+  let t5751 := (sin t5749)
+  let t5752 := (t5750 * t66)
+  let t5753 := (t5751 * t66)
+  let t5754 := (t5750 * t68)
+  let t5756 := (-t5751)
+  let t5758 := ((t5756 * t66) + (t5754 * t68))
+  let t5759 := (t5751 * t68)
+  let t5761 := (t5752 + (t5759 * t68))
+  let t5764 := ((t5756 * t72) + (t5754 * t66))
+  let t5767 := ((t5750 * t72) + (t5759 * t66))
+  let t5768 := ((0 : α) * t5753)
+  let t5773 := ((0 : α) * t5752)
+  let t5776 := (t5773 + t5768)
+  let t5779 := ((0 : α) * t5761)
+  let t5782 := ((((1 : α) * t5758) + t5779) + t2397)
+  let t5784 := ((0 : α) * t5758)
+  let t5786 := ((t5784 + ((1 : α) * t5761)) + t2397)
+  let t5787 := (t5784 + t5779)
+  let t5788 := (t5787 + ((1 : α) * t73))
+  let t5790 := ((0 : α) * t5767)
+  let t5795 := ((0 : α) * t5764)
+  let t5798 := (t5795 + t5790)
+  let t5819 := ((((((((1 : α) * t5752) + t5768) + t89) * m.x02) + (((t5773 + ((1 : α) * t5753)) + t89) * m.x12)) + ((t5776 + ((1 : α) * t72)) * m.x22)) + ((t5776 + t89) * (0 : α)))
+  let t5827 := ((t5787 + t2397) * (0 : α))
+  let t5845 := ((((t5782 * m.x02) + (t5786 * m.x12)) + (t5788 * m.x22)) + t5827)
+  ⟨(t5749 * (-(1 : α))), ((atan2 (sqrt ((t5845 * t5845) + (t5819 * t5819))) ((((((((1 : α) * t5764) + t5790) + t95) * m.x02) + (((t5795 + ((1 : α) * t5767)) + t95) * m.x12)) + ((t5798 + ((1 : α) * t70)) * m.x22)) + ((t5798 + t95) * (0 : α)))) * (-(1 : α))), ((atan2 ((((t5782 * m.x00) + (t5786 * m.x10)) + (t5788 * m.x20)) + t5827) ((((t5782 * m.x01) + (t5786 * m.x11)) + (t5788 * m.x21)) + t5827)) * (-(1 : α)))⟩
 
 /-- extracted from the C++ template at T = Sym; 1 path(s) -/
 def Euler.extractM44_ZYZ {α : Type} [Add α] [Mul α] [Neg α] [OfNat α 0] [OfNat α 1] (sqrt : α → α) (sin : α → α) (cos : α → α) (atan2 : α → α → α) (m : M44 α) : (V3 α) :=
@@ -4034,35 +3318,35 @@ def Euler.extractM44_ZYZ {α : Type} [Add α] [Mul α] [Neg α] [OfNat α 0] [Of
   let t73 := (t66 * t68)
   let t89 := ((0 : α) * t72)
   let t95 := ((0 : α) * t70)
-  let t2422 := ((0 : α) * t73)
-  let t5793 := (atan2 m.x12 m.x02)
-  let t5794 := (cos t5793)
-  let t5795 := (sin t5793)
-  let t5796 := (t5794 * t66)
-  let t5797 := (t5795 * t66)
-  let t5798 := (t5794 * t68)
-  let t5800 := (-t5795)
-  let t5802 := ((t5800 * t66) + (t5798 * t68))
-  let t5803 := (t5795 * t68)
-  let t5805 := (t5796 + (t5803 * t68))
-  let t5808 := ((t5800 * t72) + (t5798 * t66))
-  let t5811 := ((t5794 * t72) + (t5803 * t66))
-  let t5812 := ((0 : α) * t5797)
-  let t5817 := ((0 : α) * t5796)
-  let t5820 := (t5817 + t5812)
-  let t5823 := ((0 : α) * t5805)
-  let t5826 := ((((1 : α) * t5802) + t5823) + t2422)
-  let t5828 := ((0 : α) * t5802)
-  let t5830 := ((t5828 + ((1 : α) * t5805)) + t2422)
-  let t5831 := (t5828 + t5823)
-  let t5832 := (t5831 + ((1 : α) * t73))
-  let t5833 := (t5831 + t2422)
-  let t5834 := ((0 : α) * t5811)
-  let t5839 := ((0 : α) * t5808)
-  let t5842 := (t5839 + t5834)
-  let t5937 := ((((((((1 : α) * t5796) + t5812) + t89) * m.x02) + (((t5817 + ((1 : α) * t5797)) + t89) * m.x12)) + ((t5820 + ((1 : α) * t72)) * m.x22)) + ((t5820 + t89) * m.x32))
-  let t5950 := ((((t5826 * m.x02) + (t5830 * m.x12)) + (t5832 * m.x22)) + (t5833 * m.x32))
-  ⟨(t5793 * (-(1 : α))), ((atan2 (sqrt ((t5950 * t5950) + (t5937 * t5937))) ((((((((1 : α) * t5808) + t5834) + t95) * m.x02) + (((t5839 + ((1 : α) * t5811)) + t95) * m.x12)) + ((t5842 + ((1 : α) * t70)) * m.x22)) + ((t5842 + t95) * m.x32))) * (-(1 : α))), ((atan2 ((((t5826 * m.x00) + (t5830 * m.x10)) + (t5832 * m.x20)) + (t5833 * m.x30)) ((((t5826 * m.x01) + (t5830 * m.x11)) + (t5832 * m.x21)) + (t5833 * m.x31))) * (-(1 : α)))⟩
+  let t2397 := ((0 : α) * t73)
+  let t5749 := (atan2 m.x12 m.x02)
+  let t5750 := (cos t5749)
+  let t5751 := (sin t5749)
+  let t5752 := (t5750 * t66)
+  let t5753 := (t5751 * t66)
+  let t5754 := (t5750 * t68)
+  let t5756 := (-t5751)
+  let t5758 := ((t5756 * t66) + (t5754 * t68))
+  let t5759 := (t5751 * t68)
+  let t5761 := (t5752 + (t5759 * t68))
+  let t5764 := ((t5756 * t72) + (t5754 * t66))
+  let t5767 := ((t5750 * t72) + (t5759 * t66))
+  let t5768 := ((0 : α) * t5753)
+  let t5773 := ((0 : α) * t5752)
+  let t5776 := (t5773 + t5768)
+  let t5779 := ((0 : α) * t5761)
+  let t5782 := ((((1 : α) * t5758) + t5779) + t2397)
+  let t5784 := ((0 : α) * t5758)
+  let t5786 := ((t5784 + ((1 : α) * t5761)) + t2397)
+  let t5787 := (t5784 + t5779)
+  let t5788 := (t5787 + ((1 : α) * t73))
+  let t5789 := (t5787 + t2397)
+  let t5790 := ((0 : α) * t5767)
+  let t5795 := ((0 : α) * t5764)
+  let t5798 := (t5795 + t5790)
+  let t5893 := ((((((((1 : α) * t5752) + t5768) + t89) * m.x02) + (((t5773 + ((1 : α) * t5753)) + t89) * m.x12)) + ((t5776 + ((1 : α) * t72)) * m.x22)) + ((t5776 + t89) * m.x32))
+  let t5906 := ((((t5782 * m.x02) + (t5786 * m.x12)) + (t5788 * m.x22)) + (t5789 * m.x32))
+  ⟨(t5749 * (-(1 : α))), ((atan2 (sqrt ((t5906 * t5906) + (t5893 * t5893))) ((((((((1 : α) * t5764) + t5790) + t95) * m.x02) + (((t5795 + ((1 : α) * t5767)) + t95) * m.x12)) + ((t5798 + ((1 : α) * t70)) * m.x22)) + ((t5798 + t95) * m.x32))) * (-(1 : α))), ((atan2 ((((t5782 * m.x00) + (t5786 * m.x10)) + (t5788 * m.x20)) + (t5789 * m.x30)) ((((t5782 * m.x01) + (t5786 * m.x11)) + (t5788 * m.x21)) + (t5789 * m.x31))) * (-(1 : α)))⟩
 
 /-- extracted from the C++ template at T = Sym; 1 path(s) -/
 def Euler.ctorM33_ZYZ {α : Type} [Add α] [Mul α] [Neg α] [OfNat α 0] [OfNat α 1] (sqrt : α → α) (sin : α → α) (cos : α → α) (atan2 : α → α → α) (m : M33 α) : ((V3 α) × Int) :=
@@ -4073,35 +3357,35 @@ def Euler.ctorM33_ZYZ {α : Type} [Add α] [Mul α] [Neg α] [OfNat α 0] [OfNat
   let t73 := (t66 * t68)
   let t89 := ((0 : α) * t72)
   let t95 := ((0 : α) * t70)
-  let t2422 := ((0 : α) * t73)
-  let t5793 := (atan2 m.x12 m.x02)
-  let t5794 := (cos t5793)
-  let t5795 := (sin t5793)
-  let t5796 := (t5794 * t66)
-  let t5797 := (t5795 * t66)
-  let t5798 := (t5794 * t68)
-  let t5800 := (-t5795)
-  let t5802 := ((t5800 * t66) + (t5798 * t68))
-  let t5803 := (t5795 * t68)
-  let t5805 := (t5796 + (t5803 * t68))
-  let t5808 := ((t5800 * t72) + (t5798 * t66))
-  let t5811 := ((t5794 * t72) + (t5803 * t66))
-  let t5812 := ((0 : α) * t5797)
-  let t5817 := ((0 : α) * t5796)
-  let t5820 := (t5817 + t5812)
-  let t5823 := ((0 : α) * t5805)
-  let t5826 := ((((1 : α) * t5802) + t5823) + t2422)
-  let t5828 := ((0 : α) * t5802)
-  let t5830 := ((t5828 + ((1 : α) * t5805)) + t2422)
-  let t5831 := (t5828 + t5823)
-  let t5832 := (t5831 + ((1 : α) * t73))
-  let t5834 := ((0 : α) * t5811)
-  let t5839 := ((0 : α) * t5808)
-  let t5842 := (t5839 + t5834)
-  let t5863 := ((((((((1 : α) * t5796) + t5812) + t89) * m.x02) + (((t5817 + ((1 : α) * t5797)) + t89) * m.x12)) + ((t5820 + ((1 : α) * t72)) * m.x22)) + ((t5820 + t89) * (0 : α)))
-  let t5871 := ((t5831 + t2422) * (0 : α))
-  let t5889 := ((((t5826 * m.x02) + (t5830 * m.x12)) + (t5832 * m.x22)) + t5871)
-  (⟨(t5793 * (-(1 : α))), ((atan2 (sqrt ((t5889 * t5889) + (t5863 * t5863))) ((((((((1 : α) * t5808) + t5834) + t95) * m.x02) + (((t5839 + ((1 : α) * t5811)) + t95) * m.x12)) + ((t5842 + ((1 : α) * t70)) * m.x22)) + ((t5842 + t95) * (0 : α)))) * (-(1 : α))), ((atan2 ((((t5826 * m.x00) + (t5830 * m.x10)) + (t5832 * m.x20)) + t5871) ((((t5826 * m.x01) + (t5830 * m.x11)) + (t5832 * m.x21)) + t5871)) * (-(1 : α)))⟩, (8209 : Int))
+  let t2397 := ((0 : α) * t73)
+  let t5749 := (atan2 m.x12 m.x02)
+  let t5750 := (cos t5749)
+  let t5751 := (sin t5749)
+  let t5752 := (t5750 * t66)
+  let t5753 := (t5751 * t66)
+  let t5754 := (t5750 * t68)
+  let t5756 := (-t5751)
+  let t5758 := ((t5756 * t66) + (t5754 * t68))
+  let t5759 := (t5751 * t68)
+  let t5761 := (t5752 + (t5759 * t68))
+  let t5764 := ((t5756 * t72) + (t5754 * t66))
+  let t5767 := ((t5750 * t72) + (t5759 * t66))
+  let t5768 := ((0 : α) * t5753)
+  let t5773 := ((0 : α) * t5752)
+  let t5776 := (t5773 + t5768)
+  let t5779 := ((0 : α) * t5761)
+  let t5782 := ((((1 : α) * t5758) + t5779) + t2397)
+  let t5784 := ((0 : α) * t5758)
+  let t5786 := ((t5784 + ((1 : α) * t5761)) + t2397)
+  let t5787 := (t5784 + t5779)
+  let t5788 := (t5787 + ((1 : α) * t73))
+  let t5790 := ((0 : α) * t5767)
+  let t5795 := ((0 : α) * t5764)
+  let t5798 := (t5795 + t5790)
+  let t5819 := ((((((((1 : α) * t5752) + t5768) + t89) * m.x02) + (((t5773 + ((1 : α) * t5753)) + t89) * m.x12)) + ((t5776 + ((1 : α) * t72)) * m.x22)) + ((t5776 + t89) * (0 : α)))
+  let t5827 := ((t5787 + t2397) * (0 : α))
+  let t5845 := ((((t5782 * m.x02) + (t5786 * m.x12)) + (t5788 * m.x22)) + t5827)
+  (⟨(t5749 * (-(1 : α))), ((atan2 (sqrt ((t5845 * t5845) + (t5819 * t5819))) ((((((((1 : α) * t5764) + t5790) + t95) * m.x02) + (((t5795 + ((1 : α) * t5767)) + t95) * m.x12)) + ((t5798 + ((1 : α) * t70)) * m.x22)) + ((t5798 + t95) * (0 : α)))) * (-(1 : α))), ((atan2 ((((t5782 * m.x00) + (t5786 * m.x10)) + (t5788 * m.x20)) + t5827) ((((t5782 * m.x01) + (t5786 * m.x11)) + (t5788 * m.x21)) + t5827)) * (-(1 : α)))⟩, (8209 : Int))
 
 /-- extracted from the C++ template at T = Sym; 1 path(s) -/
 def Euler.ctorM44_ZYZ {α : Type} [Add α] [Mul α] [Neg α] [OfNat α 0] [OfNat α 1] (sqrt : α → α) (sin : α → α) (cos : α → α) (atan2 : α → α → α) (m : M44 α) : ((V3 α) × Int) :=
@@ -4112,35 +3396,35 @@ def Euler.ctorM44_ZYZ {α : Type} [Add α] [Mul α] [Neg α] [OfNat α 0] [OfNat
   let t73 := (t66 * t68)
   let t89 := ((0 : α) * t72)
   let t95 := ((0 : α) * t70)
-  let t2422 := ((0 : α) * t73)
-  let t5793 := (atan2 m.x12 m.x02)
-  let t5794 := (cos t5793)
-  let t5795 := (sin t5793)
-  let t5796 := (t5794 * t66)
-  let t5797 := (t5795 * t66)
-  let t5798 := (t5794 * t68)
-  let t5800 := (-t5795)
-  let t5802 := ((t5800 * t66) + (t5798 * t68))
-  let t5803 := (t5795 * t68)
-  let t5805 := (t5796 + (t5803 * t68))
-  let t5808 := ((t5800 * t72) + (t5798 * t66))
-  let t5811 := ((t5794 * t72) + (t5803 * t66))
-  let t5812 := ((0 : α) * t5797)
-  let t5817 := ((0 : α) * t5796)
-  let t5820 := (t5817 + t5812)
-  let t5823 := ((0 : α) * t5805)
-  let t5826 := ((((1 : α) * t5802) + t5823) + t2422)
-  let t5828 := ((0 : α) * t5802)
-  let t5830 := ((t5828 + ((1 : α) * t5805)) + t2422)
-  let t5831 := (t5828 + t5823)
-  let t5832 := (t5831 + ((1 : α) * t73))
-  let t5833 := (t5831 + t2422)
-  let t5834 := ((0 : α) * t5811)
-  let t5839 := ((0 : α) * t5808)
-  let t5842 := (t5839 + t5834)
-  let t5937 := ((((((((1 : α) * t5796) + t5812) + t89) * m.x02) + (((t5817 + ((1 : α) * t5797)) + t89) * m.x12)) + ((t5820 + ((1 : α) * t72)) * m.x22)) + ((t5820 + t89) * m.x32))
-  let t5950 := ((((t5826 * m.x02) + (t5830 * m.x12)) + (t5832 * m.x22)) + (t5833 * m.x32))
-  (⟨(t5793 * (-(1 : α))), ((atan2 (sqrt ((t5950 * t5950) + (t5937 * t5937))) ((((((((1 : α) * t5808) + t5834) + t95) * m.x02) + (((t5839 + ((1 : α) * t5811)) + t95) * m.x12)) + ((t5842 + ((1 : α) * t70)) * m.x22)) + ((t5842 + t95) * m.x32))) * (-(1 : α))), ((atan2 ((((t5826 * m.x00) + (t5830 * m.x10)) + (t5832 * m.x20)) + (t5833 * m.x30)) ((((t5826 * m.x01) + (t5830 * m.x11)) + (t5832 * m.x21)) + (t5833 * m.x31))) * (-(1 : α)))⟩, (8209 : Int))
+  let t2397 := ((0 : α) * t73)
+  let t5749 := (atan2 m.x12 m.x02)
+  let t5750 := (cos t5749)
+  let t5751 := (sin t5749)
+  let t5752 := (t5750 * t66)
+  let t5753 := (t5751 * t66)
+  let t5754 := (t5750 * t68)
+  let t5756 := (-t5751)
+  let t5758 := ((t5756 * t66) + (t5754 * t68))
+  let t5759 := (t5751 * t68)
+  let t5761 := (t5752 + (t5759 * t68))
+  let t5764 := ((t5756 * t72) + (t5754 * t66))
+  let t5767 := ((t5750 * t72) + (t5759 * t66))
+  let t5768 := ((0 : α) * t5753)
+  let t5773 := ((0 : α) * t5752)
+  let t5776 := (t5773 + t5768)
+  let t5779 := ((0 : α) * t5761)
+  let t5782 := ((((1 : α) * t5758) + t5779) + t2397)
+  let t5784 := ((0 : α) * t5758)
+  let t5786 := ((t5784 + ((1 : α) * t5761)) + t2397)
+  let t5787 := (t5784 + t5779)
+  let t5788 := (t5787 + ((1 : α) * t73))
+  let t5789 := (t5787 + t2397)
+  let t5790 := ((0 : α) * t5767)
+  let t5795 := ((0 : α) * t5764)
+  let t5798 := (t5795 + t5790)
+  let t5893 := ((((((((1 : α) * t5752) + t5768) + t89) * m.x02) + (((t5773 + ((1 : α) * t5753)) + t89) * m.x12)) + ((t5776 + ((1 : α) * t72)) * m.x22)) + ((t5776 + t89) * m.x32))
+  let t5906 := ((((t5782 * m.x02) + (t5786 * m.x12)) + (t5788 * m.x22)) + (t5789 * m.x32))
+  (⟨(t5749 * (-(1 : α))), ((atan2 (sqrt ((t5906 * t5906) + (t5893 * t5893))) ((((((((1 : α) * t5764) + t5790) + t95) * m.x02) + (((t5795 + ((1 : α) * t5767)) + t95) * m.x12)) + ((t5798 + ((1 : α) * t70)) * m.x22)) + ((t5798 + t95) * m.x32))) * (-(1 : α))), ((atan2 ((((t5782 * m.x00) + (t5786 * m.x10)) + (t5788 * m.x20)) + (t5789 * m.x30)) ((((t5782 * m.x01) + (t5786 * m.x11)) + (t5788 * m.x21)) + (t5789 * m.x31))) * (-(1 : α)))⟩, (8209 : Int))
 
 /-- extracted from the C++ template at T = Sym; 1 path(s) -/
 def Euler.extractQuat_ZYZ {α : Type} [Add α] [Sub α] [Mul α] [Neg α] [OfNat α 0] [OfNat α 1] [OfNat α 2] (sqrt : α → α) (sin : α → α) (cos : α → α) (atan2 : α → α → α) (q : Quat α) : (V3 α) :=
@@ -4151,47 +3435,47 @@ def Euler.extractQuat_ZYZ {α : Type} [Add α] [Sub α] [Mul α] [Neg α] [OfNat
   let t73 := (t66 * t68)
   let t89 := ((0 : α) * t72)
   let t95 := ((0 : α) * t70)
-  let t309 := (q.v.x * q.v.x)
-  let t310 := (q.v.y * q.v.y)
-  let t314 := ((1 : α) - ((2 : α) * (t310 + t309)))
-  let t315 := (q.v.x * q.r)
-  let t316 := (q.v.y * q.v.z)
-  let t319 := (q.v.y * q.r)
-  let t320 := (q.v.z * q.v.x)
-  let t324 := ((2 : α) * (t316 + t315))
-  let t325 := (q.v.z * q.v.z)
-  let t329 := (q.v.z * q.r)
-  let t330 := (q.v.x * q.v.y)
-  let t334 := ((2 : α) * (t320 - t319))
-  let t2422 := ((0 : α) * t73)
-  let t5979 := (atan2 t324 t334)
-  let t5980 := (cos t5979)
-  let t5981 := (sin t5979)
-  let t5982 := (t5980 * t66)
-  let t5983 := (t5981 * t66)
-  let t5984 := (t5980 * t68)
-  let t5986 := (-t5981)
-  let t5988 := ((t5986 * t66) + (t5984 * t68))
-  let t5989 := (t5981 * t68)
-  let t5991 := (t5982 + (t5989 * t68))
-  let t5994 := ((t5986 * t72) + (t5984 * t66))
-  let t5997 := ((t5980 * t72) + (t5989 * t66))
-  let t5998 := ((0 : α) * t5983)
-  let t6003 := ((0 : α) * t5982)
-  let t6006 := (t6003 + t5998)
-  let t6009 := ((0 : α) * t5991)
-  let t6012 := ((((1 : α) * t5988) + t6009) + t2422)
-  let t6014 := ((0 : α) * t5988)
-  let t6016 := ((t6014 + ((1 : α) * t5991)) + t2422)
-  let t6017 := (t6014 + t6009)
-  let t6018 := (t6017 + ((1 : α) * t73))
-  let t6020 := ((0 : α) * t5997)
-  let t6025 := ((0 : α) * t5994)
-  let t6028 := (t6025 + t6020)
-  let t6049 := ((((((((1 : α) * t5982) + t5998) + t89) * t334) + (((t6003 + ((1 : α) * t5983)) + t89) * t324)) + ((t6006 + ((1 : α) * t72)) * t314)) + ((t6006 + t89) * (0 : α)))
-  let t6057 := ((t6017 + t2422) * (0 : α))
-  let t6075 := ((((t6012 * t334) + (t6016 * t324)) + (t6018 * t314)) + t6057)
-  ⟨(t5979 * (-(1 : α))), ((atan2 (sqrt ((t6075 * t6075) + (t6049 * t6049))) ((((((((1 : α) * t5994) + t6020) + t95) * t334) + (((t6025 + ((1 : α) * t5997)) + t95) * t324)) + ((t6028 + ((1 : α) * t70)) * t314)) + ((t6028 + t95) * (0 : α)))) * (-(1 : α))), ((atan2 ((((t6012 * ((1 : α) - ((2 : α) * (t310 + t325)))) + (t6016 * ((2 : α) * (t330 - t329)))) + (t6018 * ((2 : α) * (t320 + t319)))) + t6057) ((((t6012 * ((2 : α) * (t330 + t329))) + (t6016 * ((1 : α) - ((2 : α) * (t325 + t309))))) + (t6018 * ((2 : α) * (t316 - t315)))) + t6057)) * (-(1 : α)))⟩
+  let t306 := (q.v.x * q.v.x)
+  let t307 := (q.v.y * q.v.y)
+  let t311 := ((1 : α) - ((2 : α) * (t307 + t306)))
+  let t312 := (q.v.x * q.r)
+  let t313 := (q.v.y * q.v.z)
+  let t316 := (q.v.y * q.r)
+  let t317 := (q.v.z * q.v.x)
+  let t321 := ((2 : α) * (t313 + t312))
+  let t322 := (q.v.z * q.v.z)
+  let t326 := (q.v.z * q.r)
+  let t327 := (q.v.x * q.v.y)
+  let t331 := ((2 : α) * (t317 - t316))
+  let t2397 := ((0 : α) * t73)
+  let t5935 := (atan2 t321 t331)
+  let t5936 := (cos t5935)
+  let t5937 := (sin t5935)
+  let t5938 := (t5936 * t66)
+  let t5939 := (t5937 * t66)
+  let t5940 := (t5936 * t68)
+  let t5942 := (-t5937)
+  let t5944 := ((t5942 * t66) + (t5940 * t68))
+  let t5945 := (t5937 * t68)
+  let t5947 := (t5938 + (t5945 * t68))
+  let t5950 := ((t5942 * t72) + (t5940 * t66))
+  let t5953 := ((t5936 * t72) + (t5945 * t66))
+  let t5954 := ((0 : α) * t5939)
+  let t5959 := ((0 : α) * t5938)
+  let t5962 := (t5959 + t5954)
+  let t5965 := ((0 : α) * t5947)
+  let t5968 := ((((1 : α) * t5944) + t5965) + t2397)
+  let t5970 := ((0 : α) * t5944)
+  let t5972 := ((t5970 + ((1 : α) * t5947)) + t2397)
+  let t5973 := (t5970 + t5965)
+  let t5974 := (t5973 + ((1 : α) * t73))
+  let t5976 := ((0 : α) * t5953)
+  let t5981 := ((0 : α) * t5950)
+  let t5984 := (t5981 + t5976)
+  let t6005 := ((((((((1 : α) * t5938) + t5954) + t89) * t331) + (((t5959 + ((1 : α) * t5939)) + t89) * t321)) + ((t5962 + ((1 : α) * t72)) * t311)) + ((t5962 + t89) * (0 : α)))
+  let t6013 := ((t5973 + t2397) * (0 : α))
+  let t6031 := ((((t5968 * t331) + (t5972 * t321)) + (t5974 * t311)) + t6013)
+  ⟨(t5935 * (-(1 : α))), ((atan2 (sqrt ((t6031 * t6031) + (t6005 * t6005))) ((((((((1 : α) * t5950) + t5976) + t95) * t331) + (((t5981 + ((1 : α) * t5953)) + t95) * t321)) + ((t5984 + ((1 : α) * t70)) * t311)) + ((t5984 + t95) * (0 : α)))) * (-(1 : α))), ((atan2 ((((t5968 * ((1 : α) - ((2 : α) * (t307 + t322)))) + (t5972 * ((2 : α) * (t327 - t326)))) + (t5974 * ((2 : α) * (t317 + t316)))) + t6013) ((((t5968 * ((2 : α) * (t327 + t326))) + (t5972 * ((1 : α) - ((2 : α) * (t322 + t306))))) + (t5974 * ((2 : α) * (t313 - t312)))) + t6013)) * (-(1 : α)))⟩
 
 /-- extracted from the C++ template at T = Sym; 1 path(s) -/
 def Euler.ctorXYZLayout_ZYZ {α : Type} (v : V3 α) : ((V3 α) × Int) :=
@@ -4255,35 +3539,35 @@ def Euler.reorderFromXYZ_ZYZ {α : Type} [Add α] [Sub α] [Mul α] [Neg α] [Of
   let t73 := (t66 * t68)
   let t89 := ((0 : α) * t72)
   let t95 := ((0 : α) * t70)
-  let t2422 := ((0 : α) * t73)
-  let t6118 := (atan2 t26 t25)
-  let t6119 := (cos t6118)
-  let t6120 := (sin t6118)
-  let t6121 := (t6119 * t66)
-  let t6122 := (t6120 * t66)
-  let t6123 := (t6119 * t68)
-  let t6125 := (-t6120)
-  let t6127 := ((t6125 * t66) + (t6123 * t68))
-  let t6128 := (t6120 * t68)
-  let t6130 := (t6121 + (t6128 * t68))
-  let t6133 := ((t6125 * t72) + (t6123 * t66))
-  let t6136 := ((t6119 * t72) + (t6128 * t66))
-  let t6137 := ((0 : α) * t6122)
-  let t6142 := ((0 : α) * t6121)
-  let t6145 := (t6142 + t6137)
-  let t6148 := ((0 : α) * t6130)
-  let t6151 := ((((1 : α) * t6127) + t6148) + t2422)
-  let t6153 := ((0 : α) * t6127)
-  let t6155 := ((t6153 + ((1 : α) * t6130)) + t2422)
-  let t6156 := (t6153 + t6148)
-  let t6157 := (t6156 + ((1 : α) * t73))
-  let t6159 := ((0 : α) * t6136)
-  let t6164 := ((0 : α) * t6133)
-  let t6167 := (t6164 + t6159)
-  let t6188 := ((((((((1 : α) * t6121) + t6137) + t89) * t25) + (((t6142 + ((1 : α) * t6122)) + t89) * t26)) + ((t6145 + ((1 : α) * t72)) * t27)) + ((t6145 + t89) * (0 : α)))
-  let t6196 := ((t6156 + t2422) * (0 : α))
-  let t6214 := ((((t6151 * t25) + (t6155 * t26)) + (t6157 * t27)) + t6196)
-  (⟨(t6118 * (-(1 : α))), ((atan2 (sqrt ((t6214 * t6214) + (t6188 * t6188))) ((((((((1 : α) * t6133) + t6159) + t95) * t25) + (((t6164 + ((1 : α) * t6136)) + t95) * t26)) + ((t6167 + ((1 : α) * t70)) * t27)) + ((t6167 + t95) * (0 : α)))) * (-(1 : α))), ((atan2 ((((t6151 * (t5 * t6)) + (t6155 * ((t8 * t12) - t11))) + (t6157 * ((t8 * t10) + t13))) + t6196) ((((t6151 * (t5 * t9)) + (t6155 * ((t8 * t13) + t10))) + (t6157 * ((t8 * t11) - t12))) + t6196)) * (-(1 : α)))⟩, (8209 : Int))
+  let t2397 := ((0 : α) * t73)
+  let t6074 := (atan2 t26 t25)
+  let t6075 := (cos t6074)
+  let t6076 := (sin t6074)
+  let t6077 := (t6075 * t66)
+  let t6078 := (t6076 * t66)
+  let t6079 := (t6075 * t68)
+  let t6081 := (-t6076)
+  let t6083 := ((t6081 * t66) + (t6079 * t68))
+  let t6084 := (t6076 * t68)
+  let t6086 := (t6077 + (t6084 * t68))
+  let t6089 := ((t6081 * t72) + (t6079 * t66))
+  let t6092 := ((t6075 * t72) + (t6084 * t66))
+  let t6093 := ((0 : α) * t6078)
+  let t6098 := ((0 : α) * t6077)
+  let t6101 := (t6098 + t6093)
+  let t6104 := ((0 : α) * t6086)
+  let t6107 := ((((1 : α) * t6083) + t6104) + t2397)
+  let t6109 := ((0 : α) * t6083)
+  let t6111 := ((t6109 + ((1 : α) * t6086)) + t2397)
+  let t6112 := (t6109 + t6104)
+  let t6113 := (t6112 + ((1 : α) * t73))
+  let t6115 := ((0 : α) * t6092)
+  let t6120 := ((0 : α) * t6089)
+  let t6123 := (t6120 + t6115)
+  let t6144 := ((((((((1 : α) * t6077) + t6093) + t89) * t25) + (((t6098 + ((1 : α) * t6078)) + t89) * t26)) + ((t6101 + ((1 : α) * t72)) * t27)) + ((t6101 + t89) * (0 : α)))
+  let t6152 := ((t6112 + t2397) * (0 : α))
+  let t6170 := ((((t6107 * t25) + (t6111 * t26)) + (t6113 * t27)) + t6152)
+  (⟨(t6074 * (-(1 : α))), ((atan2 (sqrt ((t6170 * t6170) + (t6144 * t6144))) ((((((((1 : α) * t6089) + t6115) + t95) * t25) + (((t6120 + ((1 : α) * t6092)) + t95) * t26)) + ((t6123 + ((1 : α) * t70)) * t27)) + ((t6123 + t95) * (0 : α)))) * (-(1 : α))), ((atan2 ((((t6107 * (t5 * t6)) + (t6111 * ((t8 * t12) - t11))) + (t6113 * ((t8 * t10) + t13))) + t6152) ((((t6107 * (t5 * t9)) + (t6111 * ((t8 * t13) + t10))) + (t6113 * ((t8 * t11) - t12))) + t6152)) * (-(1 : α)))⟩, (8209 : Int))
 
 /-- extracted from the C++ template at T = Sym; 1 path(s) -/
 def Euler.reorderToZYXr_ZYZ {α : Type} [Add α] [Sub α] [Mul α] [Neg α] [OfNat α 0] [OfNat α 1] (sqrt : α → α) (sin : α → α) (cos : α → α) (atan2 : α → α → α) (a : V3 α) : ((V3 α) × Int) :=
@@ -4300,45 +3584,26 @@ def Euler.reorderToZYXr_ZYZ {α : Type} [Add α] [Sub α] [Mul α] [Neg α] [OfN
   let t99 := (t95 + t90)
   let t100 := (t99 + ((1 : α) * t72))
   let t128 := ((t99 + t89) * (0 : α))
-  let t627 := (a.x * (-(1 : α)))
-  let t628 := (a.y * (-(1 : α)))
-  let t629 := (a.z * (-(1 : α)))
-  let t630 := (cos t627)
-  let t631 := (cos t628)
-  let t632 := (cos t629)
-  let t633 := (sin t627)
-  let t634 := (sin t628)
-  let t635 := (sin t629)
-  let t636 := (t630 * t632)
-  let t637 := (t630 * t635)
-  let t638 := (t633 * t632)
-  let t639 := (t633 * t635)
-  let t3577 := (t634 * t633)
-  let t3579 := (t634 * t635)
-  let t3580 := (-t631)
-  let t3582 := ((t3580 * t639) + t636)
-  let t3584 := ((t3580 * t637) - t638)
-  let t3585 := ((-t634) * t632)
-  let t3587 := ((t631 * t638) + t637)
-  let t3589 := ((t631 * t636) - t639)
-  let t6257 := (atan2 t3577 t631)
-  let t6258 := (-t6257)
-  let t6259 := (cos t6258)
-  let t6260 := (sin t6258)
-  let t6263 := ((t72 * t6259) + ((t66 * t68) * t6260))
-  let t6266 := ((t66 * t6259) + ((t68 * t68) * t6260))
-  let t6267 := (t66 * t6260)
-  let t6275 := ((0 : α) * t6267)
-  let t6276 := ((0 : α) * t6266)
-  let t6279 := ((((1 : α) * t6263) + t6276) + t6275)
-  let t6281 := ((0 : α) * t6263)
-  let t6283 := ((t6281 + ((1 : α) * t6266)) + t6275)
-  let t6285 := (t6281 + t6276)
-  let t6286 := (t6285 + ((1 : α) * t6267))
-  let t6306 := ((((t93 * t3589) + (t97 * t3587)) + (t100 * t3585)) + t128)
-  let t6312 := ((((t93 * t3584) + (t97 * t3582)) + (t100 * t3579)) + t128)
-  let t6319 := ((t6285 + t6275) * (0 : α))
-  (⟨(atan2 (-((((t6279 * t3589) + (t6283 * t3587)) + (t6286 * t3585)) + t6319)) ((((t6279 * t3584) + (t6283 * t3582)) + (t6286 * t3579)) + t6319)), (atan2 (-((((t93 * (t634 * t630)) + (t97 * t3577)) + (t100 * t631)) + t128)) (sqrt ((t6306 * t6306) + (t6312 * t6312)))), t6257⟩, (256 : Int))
+  let t622 := (a.x * (-(1 : α)))
+  let t623 := (a.y * (-(1 : α)))
+  let t624 := (a.z * (-(1 : α)))
+  let t625 := (cos t622)
+  let t626 := (cos t623)
+  let t627 := (cos t624)
+  let t628 := (sin t622)
+  let t629 := (sin t623)
+  let t630 := (sin t624)
+  let t631 := (t625 * t627)
+  let t632 := (t625 * t630)
+  let t633 := (t628 * t627)
+  let t634 := (t628 * t630)
+  let t3537 := (t629 * t628)
+  let t3540 := (-t626)
+  let t3544 := ((t3540 * t632) - t633)
+  let t3549 := ((t626 * t631) - t634)
+  let t6262 := ((((t93 * t3549) + (t97 * ((t626 * t633) + t632))) + (t100 * ((-t629) * t627))) + t128)
+  let t6268 := ((((t93 * t3544) + (t97 * ((t3540 * t634) + t631))) + (t100 * (t629 * t630))) + t128)
+  (⟨(atan2 t3544 t3549), (atan2 (-((((t93 * (t629 * t625)) + (t97 * t3537)) + (t100 * t626)) + t128)) (sqrt ((t6262 * t6262) + (t6268 * t6268)))), (atan2 t3537 t626)⟩, (256 : Int))
 
 /-- extracted from the C++ template at T = Sym; 1 path(s) -/
 def Euler.toMatrix33_ZXZ {α : Type} [Add α] [Sub α] [Mul α] [Neg α] (sin : α → α) (cos : α → α) (a : V3 α) : (M33 α) :=
@@ -4352,8 +3617,8 @@ def Euler.toMatrix33_ZXZ {α : Type} [Add α] [Sub α] [Mul α] [Neg α] (sin : 
   let t11 := (t4 * t9)
   let t12 := (t7 * t6)
   let t13 := (t7 * t9)
-  let t4088 := (-t5)
-  ⟨((t4088 * t13) + t10), ((t5 * t12) + t11), (t8 * t7), ((t4088 * t11) - t12), ((t5 * t10) - t13), (t8 * t4), (t8 * t9), ((-t8) * t6), t5⟩
+  let t4047 := (-t5)
+  ⟨((t4047 * t13) + t10), ((t5 * t12) + t11), (t8 * t7), ((t4047 * t11) - t12), ((t5 * t10) - t13), (t8 * t4), (t8 * t9), ((-t8) * t6), t5⟩
 
 /-- extracted from the C++ template at T = Sym; 1 path(s) -/
 def Euler.toMatrix44_ZXZ {α : Type} [Add α] [Sub α] [Mul α] [Neg α] [OfNat α 0] [OfNat α 1] (sin : α → α) (cos : α → α) (a : V3 α) : (M44 α) :=
@@ -4367,8 +3632,8 @@ def Euler.toMatrix44_ZXZ {α : Type} [Add α] [Sub α] [Mul α] [Neg α] [OfNat 
   let t11 := (t4 * t9)
   let t12 := (t7 * t6)
   let t13 := (t7 * t9)
-  let t4088 := (-t5)
-  ⟨((t4088 * t13) + t10), ((t5 * t12) + t11), (t8 * t7), (0 : α), ((t4088 * t11) - t12), ((t5 * t10) - t13), (t8 * t4), (0 : α), (t8 * t9), ((-t8) * t6), t5, (0 : α), (0 : α), (0 : α), (0 : α), (1 : α)⟩
+  let t4047 := (-t5)
+  ⟨((t4047 * t13) + t10), ((t5 * t12) + t11), (t8 * t7), (0 : α), ((t4047 * t11) - t12), ((t5 * t10) - t13), (t8 * t4), (0 : α), (t8 * t9), ((-t8) * t6), t5, (0 : α), (0 : α), (0 : α), (0 : α), (1 : α)⟩
 
 /-- extracted from the C++ template at T = Sym; 1 path(s) -/
 def Euler.toQuat_ZXZ {α : Type} [Add α] [Sub α] [Mul α] [Div α] [OfNat α 1] [OfNat α 2] (sin : α → α) (cos : α → α) (a : V3 α) : (Quat α) :=
@@ -4396,36 +3661,36 @@ def Euler.extractM33_ZXZ {α : Type} [Add α] [Mul α] [Neg α] [OfNat α 0] [Of
   let t73 := (t66 * t68)
   let t89 := ((0 : α) * t72)
   let t95 := ((0 : α) * t70)
-  let t2422 := ((0 : α) * t73)
-  let t6388 := (atan2 m.x02 m.x12)
-  let t6389 := (-t6388)
-  let t6390 := (cos t6389)
-  let t6391 := (sin t6389)
-  let t6392 := (t6390 * t66)
-  let t6393 := (t6391 * t66)
-  let t6394 := (t6390 * t68)
-  let t6396 := (-t6391)
-  let t6398 := ((t6396 * t66) + (t6394 * t68))
-  let t6399 := (t6391 * t68)
-  let t6401 := (t6392 + (t6399 * t68))
-  let t6404 := ((t6396 * t72) + (t6394 * t66))
-  let t6407 := ((t6390 * t72) + (t6399 * t66))
-  let t6408 := ((0 : α) * t6393)
-  let t6411 := ((((1 : α) * t6392) + t6408) + t89)
-  let t6413 := ((0 : α) * t6392)
-  let t6415 := ((t6413 + ((1 : α) * t6393)) + t89)
-  let t6416 := (t6413 + t6408)
-  let t6417 := (t6416 + ((1 : α) * t72))
-  let t6419 := ((0 : α) * t6401)
-  let t6424 := ((0 : α) * t6398)
-  let t6427 := (t6424 + t6419)
-  let t6430 := ((0 : α) * t6407)
-  let t6435 := ((0 : α) * t6404)
-  let t6438 := (t6435 + t6430)
-  let t6441 := ((t6416 + t89) * (0 : α))
-  let t6459 := ((((t6411 * m.x02) + (t6415 * m.x12)) + (t6417 * m.x22)) + t6441)
-  let t6485 := ((((((((1 : α) * t6398) + t6419) + t2422) * m.x02) + (((t6424 + ((1 : α) * t6401)) + t2422) * m.x12)) + ((t6427 + ((1 : α) * t73)) * m.x22)) + ((t6427 + t2422) * (0 : α)))
-  ⟨t6388, (atan2 (sqrt ((t6459 * t6459) + (t6485 * t6485))) ((((((((1 : α) * t6404) + t6430) + t95) * m.x02) + (((t6435 + ((1 : α) * t6407)) + t95) * m.x12)) + ((t6438 + ((1 : α) * t70)) * m.x22)) + ((t6438 + t95) * (0 : α)))), (atan2 ((((t6411 * m.x01) + (t6415 * m.x11)) + (t6417 * m.x21)) + t6441) ((((t6411 * m.x00) + (t6415 * m.x10)) + (t6417 * m.x20)) + t6441))⟩
+  let t2397 := ((0 : α) * t73)
+  let t6343 := (atan2 m.x02 m.x12)
+  let t6344 := (-t6343)
+  let t6345 := (cos t6344)
+  let t6346 := (sin t6344)
+  let t6347 := (t6345 * t66)
+  let t6348 := (t6346 * t66)
+  let t6349 := (t6345 * t68)
+  let t6351 := (-t6346)
+  let t6353 := ((t6351 * t66) + (t6349 * t68))
+  let t6354 := (t6346 * t68)
+  let t6356 := (t6347 + (t6354 * t68))
+  let t6359 := ((t6351 * t72) + (t6349 * t66))
+  let t6362 := ((t6345 * t72) + (t6354 * t66))
+  let t6363 := ((0 : α) * t6348)
+  let t6366 := ((((1 : α) * t6347) + t6363) + t89)
+  let t6368 := ((0 : α) * t6347)
+  let t6370 := ((t6368 + ((1 : α) * t6348)) + t89)
+  let t6371 := (t6368 + t6363)
+  let t6372 := (t6371 + ((1 : α) * t72))
+  let t6374 := ((0 : α) * t6356)
+  let t6379 := ((0 : α) * t6353)
+  let t6382 := (t6379 + t6374)
+  let t6385 := ((0 : α) * t6362)
+  let t6390 := ((0 : α) * t6359)
+  let t6393 := (t6390 + t6385)
+  let t6396 := ((t6371 + t89) * (0 : α))
+  let t6414 := ((((t6366 * m.x02) + (t6370 * m.x12)) + (t6372 * m.x22)) + t6396)
+  let t6440 := ((((((((1 : α) * t6353) + t6374) + t2397) * m.x02) + (((t6379 + ((1 : α) * t6356)) + t2397) * m.x12)) + ((t6382 + ((1 : α) * t73)) * m.x22)) + ((t6382 + t2397) * (0 : α)))
+  ⟨t6343, (atan2 (sqrt ((t6414 * t6414) + (t6440 * t6440))) ((((((((1 : α) * t6359) + t6385) + t95) * m.x02) + (((t6390 + ((1 : α) * t6362)) + t95) * m.x12)) + ((t6393 + ((1 : α) * t70)) * m.x22)) + ((t6393 + t95) * (0 : α)))), (atan2 ((((t6366 * m.x01) + (t6370 * m.x11)) + (t6372 * m.x21)) + t6396) ((((t6366 * m.x00) + (t6370 * m.x10)) + (t6372 * m.x20)) + t6396))⟩
 
 /-- extracted from the C++ template at T = Sym; 1 path(s) -/
 def Euler.extractM44_ZXZ {α : Type} [Add α] [Mul α] [Neg α] [OfNat α 0] [OfNat α 1] (sqrt : α → α) (sin : α → α) (cos : α → α) (atan2 : α → α → α) (m : M44 α) : (V3 α) :=
@@ -4436,36 +3701,36 @@ def Euler.extractM44_ZXZ {α : Type} [Add α] [Mul α] [Neg α] [OfNat α 0] [Of
   let t73 := (t66 * t68)
   let t89 := ((0 : α) * t72)
   let t95 := ((0 : α) * t70)
-  let t2422 := ((0 : α) * t73)
-  let t6388 := (atan2 m.x02 m.x12)
-  let t6389 := (-t6388)
-  let t6390 := (cos t6389)
-  let t6391 := (sin t6389)
-  let t6392 := (t6390 * t66)
-  let t6393 := (t6391 * t66)
-  let t6394 := (t6390 * t68)
-  let t6396 := (-t6391)
-  let t6398 := ((t6396 * t66) + (t6394 * t68))
-  let t6399 := (t6391 * t68)
-  let t6401 := (t6392 + (t6399 * t68))
-  let t6404 := ((t6396 * t72) + (t6394 * t66))
-  let t6407 := ((t6390 * t72) + (t6399 * t66))
-  let t6408 := ((0 : α) * t6393)
-  let t6411 := ((((1 : α) * t6392) + t6408) + t89)
-  let t6413 := ((0 : α) * t6392)
-  let t6415 := ((t6413 + ((1 : α) * t6393)) + t89)
-  let t6416 := (t6413 + t6408)
-  let t6417 := (t6416 + ((1 : α) * t72))
-  let t6418 := (t6416 + t89)
-  let t6419 := ((0 : α) * t6401)
-  let t6424 := ((0 : α) * t6398)
-  let t6427 := (t6424 + t6419)
-  let t6430 := ((0 : α) * t6407)
-  let t6435 := ((0 : α) * t6404)
-  let t6438 := (t6435 + t6430)
-  let t6530 := ((((t6411 * m.x02) + (t6415 * m.x12)) + (t6417 * m.x22)) + (t6418 * m.x32))
-  let t6543 := ((((((((1 : α) * t6398) + t6419) + t2422) * m.x02) + (((t6424 + ((1 : α) * t6401)) + t2422) * m.x12)) + ((t6427 + ((1 : α) * t73)) * m.x22)) + ((t6427 + t2422) * m.x32))
-  ⟨t6388, (atan2 (sqrt ((t6530 * t6530) + (t6543 * t6543))) ((((((((1 : α) * t6404) + t6430) + t95) * m.x02) + (((t6435 + ((1 : α) * t6407)) + t95) * m.x12)) + ((t6438 + ((1 : α) * t70)) * m.x22)) + ((t6438 + t95) * m.x32))), (atan2 ((((t6411 * m.x01) + (t6415 * m.x11)) + (t6417 * m.x21)) + (t6418 * m.x31)) ((((t6411 * m.x00) + (t6415 * m.x10)) + (t6417 * m.x20)) + (t6418 * m.x30)))⟩
+  let t2397 := ((0 : α) * t73)
+  let t6343 := (atan2 m.x02 m.x12)
+  let t6344 := (-t6343)
+  let t6345 := (cos t6344)
+  let t6346 := (sin t6344)
+  let t6347 := (t6345 * t66)
+  let t6348 := (t6346 * t66)
+  let t6349 := (t6345 * t68)
+  let t6351 := (-t6346)
+  let t6353 := ((t6351 * t66) + (t6349 * t68))
+  let t6354 := (t6346 * t68)
+  let t6356 := (t6347 + (t6354 * t68))
+  let t6359 := ((t6351 * t72) + (t6349 * t66))
+  let t6362 := ((t6345 * t72) + (t6354 * t66))
+  let t6363 := ((0 : α) * t6348)
+  let t6366 := ((((1 : α) * t6347) + t6363) + t89)
+  let t6368 := ((0 : α) * t6347)
+  let t6370 := ((t6368 + ((1 : α) * t6348)) + t89)
+  let t6371 := (t6368 + t6363)
+  let t6372 := (t6371 + ((1 : α) * t72))
+  let t6373 := (t6371 + t89)
+  let t6374 := ((0 : α) * t6356)
+  let t6379 := ((0 : α) * t6353)
+  let t6382 := (t6379 + t6374)
+  let t6385 := ((0 : α) * t6362)
+  let t6390 := ((0 : α) * t6359)
+  let t6393 := (t6390 + t6385)
+  let t6485 := ((((t6366 * m.x02) + (t6370 * m.x12)) + (t6372 * m.x22)) + (t6373 * m.x32))
+  let t6498 := ((((((((1 : α) * t6353) + t6374) + t2397) * m.x02) + (((t6379 + ((1 : α) * t6356)) + t2397) * m.x12)) + ((t6382 + ((1 : α) * t73)) * m.x22)) + ((t6382 + t2397) * m.x32))
+  ⟨t6343, (atan2 (sqrt ((t6485 * t6485) + (t6498 * t6498))) ((((((((1 : α) * t6359) + t6385) + t95) * m.x02) + (((t6390 + ((1 : α) * t6362)) + t95) * m.x12)) + ((t6393 + ((1 : α) * t70)) * m.x22)) + ((t6393 + t95) * m.x32))), (atan2 ((((t6366 * m.x01) + (t6370 * m.x11)) + (t6372 * m.x21)) + (t6373 * m.x31)) ((((t6366 * m.x00) + (t6370 * m.x10)) + (t6372 * m.x20)) + (t6373 * m.x30)))⟩
 
 /-- extracted from the C++ template at T = Sym; 1 path(s) -/
 def Euler.ctorM33_ZXZ {α : Type} [Add α] [Mul α] [Neg α] [OfNat α 0] [OfNat α 1] (sqrt : α → α) (sin : α → α) (cos : α → α) (atan2 : α → α → α) (m : M33 α) : ((V3 α) × Int) :=
@@ -4476,36 +3741,36 @@ def Euler.ctorM33_ZXZ {α : Type} [Add α] [Mul α] [Neg α] [OfNat α 0] [OfNat
   let t73 := (t66 * t68)
   let t89 := ((0 : α) * t72)
   let t95 := ((0 : α) * t70)
-  let t2422 := ((0 : α) * t73)
-  let t6388 := (atan2 m.x02 m.x12)
-  let t6389 := (-t6388)
-  let t6390 := (cos t6389)
-  let t6391 := (sin t6389)
-  let t6392 := (t6390 * t66)
-  let t6393 := (t6391 * t66)
-  let t6394 := (t6390 * t68)
-  let t6396 := (-t6391)
-  let t6398 := ((t6396 * t66) + (t6394 * t68))
-  let t6399 := (t6391 * t68)
-  let t6401 := (t6392 + (t6399 * t68))
-  let t6404 := ((t6396 * t72) + (t6394 * t66))
-  let t6407 := ((t6390 * t72) + (t6399 * t66))
-  let t6408 := ((0 : α) * t6393)
-  let t6411 := ((((1 : α) * t6392) + t6408) + t89)
-  let t6413 := ((0 : α) * t6392)
-  let t6415 := ((t6413 + ((1 : α) * t6393)) + t89)
-  let t6416 := (t6413 + t6408)
-  let t6417 := (t6416 + ((1 : α) * t72))
-  let t6419 := ((0 : α) * t6401)
-  let t6424 := ((0 : α) * t6398)
-  let t6427 := (t6424 + t6419)
-  let t6430 := ((0 : α) * t6407)
-  let t6435 := ((0 : α) * t6404)
-  let t6438 := (t6435 + t6430)
-  let t6441 := ((t6416 + t89) * (0 : α))
-  let t6459 := ((((t6411 * m.x02) + (t6415 * m.x12)) + (t6417 * m.x22)) + t6441)
-  let t6485 := ((((((((1 : α) * t6398) + t6419) + t2422) * m.x02) + (((t6424 + ((1 : α) * t6401)) + t2422) * m.x12)) + ((t6427 + ((1 : α) * t73)) * m.x22)) + ((t6427 + t2422) * (0 : α)))
-  (⟨t6388, (atan2 (sqrt ((t6459 * t6459) + (t6485 * t6485))) ((((((((1 : α) * t6404) + t6430) + t95) * m.x02) + (((t6435 + ((1 : α) * t6407)) + t95) * m.x12)) + ((t6438 + ((1 : α) * t70)) * m.x22)) + ((t6438 + t95) * (0 : α)))), (atan2 ((((t6411 * m.x01) + (t6415 * m.x11)) + (t6417 * m.x21)) + t6441) ((((t6411 * m.x00) + (t6415 * m.x10)) + (t6417 * m.x20)) + t6441))⟩, (8465 : Int))
+  let t2397 := ((0 : α) * t73)
+  let t6343 := (atan2 m.x02 m.x12)
+  let t6344 := (-t6343)
+  let t6345 := (cos t6344)
+  let t6346 := (sin t6344)
+  let t6347 := (t6345 * t66)
+  let t6348 := (t6346 * t66)
+  let t6349 := (t6345 * t68)
+  let t6351 := (-t6346)
+  let t6353 := ((t6351 * t66) + (t6349 * t68))
+  let t6354 := (t6346 * t68)
+  let t6356 := (t6347 + (t6354 * t68))
+  let t6359 := ((t6351 * t72) + (t6349 * t66))
+  let t6362 := ((t6345 * t72) + (t6354 * t66))
+  let t6363 := ((0 : α) * t6348)
+  let t6366 := ((((1 : α) * t6347) + t6363) + t89)
+  let t6368 := ((0 : α) * t6347)
+  let t6370 := ((t6368 + ((1 : α) * t6348)) + t89)
+  let t6371 := (t6368 + t6363)
+  let t6372 := (t6371 + ((1 : α) * t72))
+  let t6374 := ((0 : α) * t6356)
+  let t6379 := ((0 : α) * t6353)
+  let t6382 := (t6379 + t6374)
+  let t6385 := ((0 : α) * t6362)
+  let t6390 := ((0 : α) * t6359)
+  let t6393 := (t6390 + t6385)
+  let t6396 := ((t6371 + t89) * (0 : α))
+  let t6414 := ((((t6366 * m.x02) + (t6370 * m.x12)) + (t6372 * m.x22)) + t6396)
+  let t6440 := ((((((((1 : α) * t6353) + t6374) + t2397) * m.x02) + (((t6379 + ((1 : α) * t6356)) + t2397) * m.x12)) + ((t6382 + ((1 : α) * t73)) * m.x22)) + ((t6382 + t2397) * (0 : α)))
+  (⟨t6343, (atan2 (sqrt ((t6414 * t6414) + (t6440 * t6440))) ((((((((1 : α) * t6359) + t6385) + t95) * m.x02) + (((t6390 + ((1 : α) * t6362)) + t95) * m.x12)) + ((t6393 + ((1 : α) * t70)) * m.x22)) + ((t6393 + t95) * (0 : α)))), (atan2 ((((t6366 * m.x01) + (t6370 * m.x11)) + (t6372 * m.x21)) + t6396) ((((t6366 * m.x00) + (t6370 * m.x10)) + (t6372 * m.x20)) + t6396))⟩, (8465 : Int))
 
 /-- extracted from the C++ template at T = Sym; 1 path(s) -/
 def Euler.ctorM44_ZXZ {α : Type} [Add α] [Mul α] [Neg α] [OfNat α 0] [OfNat α 1] (sqrt : α → α) (sin : α → α) (cos : α → α) (atan2 : α → α → α) (m : M44 α) : ((V3 α) × Int) :=
@@ -4516,36 +3781,36 @@ def Euler.ctorM44_ZXZ {α : Type} [Add α] [Mul α] [Neg α] [OfNat α 0] [OfNat
   let t73 := (t66 * t68)
   let t89 := ((0 : α) * t72)
   let t95 := ((0 : α) * t70)
-  let t2422 := ((0 : α) * t73)
-  let t6388 := (atan2 m.x02 m.x12)
-  let t6389 := (-t6388)
-  let t6390 := (cos t6389)
-  let t6391 := (sin t6389)
-  let t6392 := (t6390 * t66)
-  let t6393 := (t6391 * t66)
-  let t6394 := (t6390 * t68)
-  let t6396 := (-t6391)
-  let t6398 := ((t6396 * t66) + (t6394 * t68))
-  let t6399 := (t6391 * t68)
-  let t6401 := (t6392 + (t6399 * t68))
-  let t6404 := ((t6396 * t72) + (t6394 * t66))
-  let t6407 := ((t6390 * t72) + (t6399 * t66))
-  let t6408 := ((0 : α) * t6393)
-  let t6411 := ((((1 : α) * t6392) + t6408) + t89)
-  let t6413 := ((0 : α) * t6392)
-  let t6415 := ((t6413 + ((1 : α) * t6393)) + t89)
-  let t6416 := (t6413 + t6408)
-  let t6417 := (t6416 + ((1 : α) * t72))
-  let t6418 := (t6416 + t89)
-  let t6419 := ((0 : α) * t6401)
-  let t6424 := ((0 : α) * t6398)
-  let t6427 := (t6424 + t6419)
-  let t6430 := ((0 : α) * t6407)
-  let t6435 := ((0 : α) * t6404)
-  let t6438 := (t6435 + t6430)
-  let t6530 := ((((t6411 * m.x02) + (t6415 * m.x12)) + (t6417 * m.x22)) + (t6418 * m.x32))
-  let t6543 := ((((((((1 : α) * t6398) + t6419) + t2422) * m.x02) + (((t6424 + ((1 : α) * t6401)) + t2422) * m.x12)) + ((t6427 + ((1 : α) * t73)) * m.x22)) + ((t6427 + t2422) * m.x32))
-  (⟨t6388, (atan2 (sqrt ((t6530 * t6530) + (t6543 * t6543))) ((((((((1 : α) * t6404) + t6430) + t95) * m.x02) + (((t6435 + ((1 : α) * t6407)) + t95) * m.x12)) + ((t6438 + ((1 : α) * t70)) * m.x22)) + ((t6438 + t95) * m.x32))), (atan2 ((((t6411 * m.x01) + (t6415 * m.x11)) + (t6417 * m.x21)) + (t6418 * m.x31)) ((((t6411 * m.x00) + (t6415 * m.x10)) + (t6417 * m.x20)) + (t6418 * m.x30)))⟩, (8465 : Int))
+  let t2397 := ((0 : α) * t73)
+  let t6343 := (atan2 m.x02 m.x12)
+  let t6344 := (-t6343)
+  let t6345 := (cos t6344)
+  let t6346 := (sin t6344)
+  let t6347 := (t6345 * t66)
+  let t6348 := (t6346 * t66)
+  let t6349 := (t6345 * t68)
+  let t6351 := (-t6346)
+  let t6353 := ((t6351 * t66) + (t6349 * t68))
+  let t6354 := (t6346 * t68)
+  let t6356 := (t6347 + (t6354 * t68))
+  let t6359 := ((t6351 * t72) + (t6349 * t66))
+  let t6362 := ((t6345 * t72) + (t6354 * t66))
+  let t6363 := ((0 : α) * t6348)
+  let t6366 := ((((1 : α) * t6347) + t6363) + t89)
+  let t6368 := ((0 : α) * t6347)
+  let t6370 := ((t6368 + ((1 : α) * t6348)) + t89)
+  let t6371 := (t6368 + t6363)
+  let t6372 := (t6371 + ((1 : α) * t72))
+  let t6373 := (t6371 + t89)
+  let t6374 := ((0 : α) * t6356)
+  let t6379 := ((0 : α) * t6353)
+  let t6382 := (t6379 + t6374)
+  let t6385 := ((0 : α) * t6362)
+  let t6390 := ((0 : α) * t6359)
+  let t6393 := (t6390 + t6385)
+  let t6485 := ((((t6366 * m.x02) + (t6370 * m.x12)) + (t6372 * m.x22)) + (t6373 * m.x32))
+  let t6498 := ((((((((1 : α) * t6353) + t6374) + t2397) * m.x02) + (((t6379 + ((1 : α) * t6356)) + t2397) * m.x12)) + ((t6382 + ((1 : α) * t73)) * m.x22)) + ((t6382 + t2397) * m.x32))
+  (⟨t6343, (atan2 (sqrt ((t6485 * t6485) + (t6498 * t6498))) ((((((((1 : α) * t6359) + t6385) + t95) * m.x02) + (((t6390 + ((1 : α) * t6362)) + t95) * m.x12)) + ((t6393 + ((1 : α) * t70)) * m.x22)) + ((t6393 + t95) * m.x32))), (atan2 ((((t6366 * m.x01) + (t6370 * m.x11)) + (t6372 * m.x21)) + (t6373 * m.x31)) ((((t6366 * m.x00) + (t6370 * m.x10)) + (t6372 * m.x20)) + (t6373 * m.x30)))⟩, (8465 : Int))
 
 /-- extracted from the C++ template at T = Sym; 1 path(s) -/
 def Euler.extractQuat_ZXZ {α : Type} [Add α] [Sub α] [Mul α] [Neg α] [OfNat α 0] [OfNat α 1] [OfNat α 2] (sqrt : α → α) (sin : α → α) (cos : α → α) (atan2 : α → α → α) (q : Quat α) : (V3 α) :=
@@ -4556,48 +3821,48 @@ def Euler.extractQuat_ZXZ {α : Type} [Add α] [Sub α] [Mul α] [Neg α] [OfNat
   let t73 := (t66 * t68)
   let t89 := ((0 : α) * t72)
   let t95 := ((0 : α) * t70)
-  let t309 := (q.v.x * q.v.x)
-  let t310 := (q.v.y * q.v.y)
-  let t314 := ((1 : α) - ((2 : α) * (t310 + t309)))
-  let t315 := (q.v.x * q.r)
-  let t316 := (q.v.y * q.v.z)
-  let t319 := (q.v.y * q.r)
-  let t320 := (q.v.z * q.v.x)
-  let t324 := ((2 : α) * (t316 + t315))
-  let t325 := (q.v.z * q.v.z)
-  let t329 := (q.v.z * q.r)
-  let t330 := (q.v.x * q.v.y)
-  let t334 := ((2 : α) * (t320 - t319))
-  let t2422 := ((0 : α) * t73)
-  let t6570 := (atan2 t334 t324)
-  let t6571 := (-t6570)
-  let t6572 := (cos t6571)
-  let t6573 := (sin t6571)
-  let t6574 := (t6572 * t66)
-  let t6575 := (t6573 * t66)
-  let t6576 := (t6572 * t68)
-  let t6578 := (-t6573)
-  let t6580 := ((t6578 * t66) + (t6576 * t68))
-  let t6581 := (t6573 * t68)
-  let t6583 := (t6574 + (t6581 * t68))
-  let t6586 := ((t6578 * t72) + (t6576 * t66))
-  let t6589 := ((t6572 * t72) + (t6581 * t66))
-  let t6590 := ((0 : α) * t6575)
-  let t6593 := ((((1 : α) * t6574) + t6590) + t89)
-  let t6595 := ((0 : α) * t6574)
-  let t6597 := ((t6595 + ((1 : α) * t6575)) + t89)
-  let t6598 := (t6595 + t6590)
-  let t6599 := (t6598 + ((1 : α) * t72))
-  let t6601 := ((0 : α) * t6583)
-  let t6606 := ((0 : α) * t6580)
-  let t6609 := (t6606 + t6601)
-  let t6612 := ((0 : α) * t6589)
-  let t6617 := ((0 : α) * t6586)
-  let t6620 := (t6617 + t6612)
-  let t6623 := ((t6598 + t89) * (0 : α))
-  let t6641 := ((((t6593 * t334) + (t6597 * t324)) + (t6599 * t314)) + t6623)
-  let t6667 := ((((((((1 : α) * t6580) + t6601) + t2422) * t334) + (((t6606 + ((1 : α) * t6583)) + t2422) * t324)) + ((t6609 + ((1 : α) * t73)) * t314)) + ((t6609 + t2422) * (0 : α)))
-  ⟨t6570, (atan2 (sqrt ((t6641 * t6641) + (t6667 * t6667))) ((((((((1 : α) * t6586) + t6612) + t95) * t334) + (((t6617 + ((1 : α) * t6589)) + t95) * t324)) + ((t6620 + ((1 : α) * t70)) * t314)) + ((t6620 + t95) * (0 : α)))), (atan2 ((((t6593 * ((2 : α) * (t330 + t329))) + (t6597 * ((1 : α) - ((2 : α) * (t325 + t309))))) + (t6599 * ((2 : α) * (t316 - t315)))) + t6623) ((((t6593 * ((1 : α) - ((2 : α) * (t310 + t325)))) + (t6597 * ((2 : α) * (t330 - t329)))) + (t6599 * ((2 : α) * (t320 + t319)))) + t6623))⟩
+  let t306 := (q.v.x * q.v.x)
+  let t307 := (q.v.y * q.v.y)
+  let t311 := ((1 : α) - ((2 : α) * (t307 + t306)))
+  let t312 := (q.v.x * q.r)
+  let t313 := (q.v.y * q.v.z)
+  let t316 := (q.v.y * q.r)
+  let t317 := (q.v.z * q.v.x)
+  let t321 := ((2 : α) * (t313 + t312))
+  let t322 := (q.v.z * q.v.z)
+  let t326 := (q.v.z * q.r)
+  let t327 := (q.v.x * q.v.y)
+  let t331 := ((2 : α) * (t317 - t316))
+  let t2397 := ((0 : α) * t73)
+  let t6525 := (atan2 t331 t321)
+  let t6526 := (-t6525)
+  let t6527 := (cos t6526)
+  let t6528 := (sin t6526)
+  let t6529 := (t6527 * t66)
+  let t6530 := (t6528 * t66)
+  let t6531 := (t6527 * t68)
+  let t6533 := (-t6528)
+  let t6535 := ((t6533 * t66) + (t6531 * t68))
+  let t6536 := (t6528 * t68)
+  let t6538 := (t6529 + (t6536 * t68))
+  let t6541 := ((t6533 * t72) + (t6531 * t66))
+  let t6544 := ((t6527 * t72) + (t6536 * t66))
+  let t6545 := ((0 : α) * t6530)
+  let t6548 := ((((1 : α) * t6529) + t6545) + t89)
+  let t6550 := ((0 : α) * t6529)
+  let t6552 := ((t6550 + ((1 : α) * t6530)) + t89)
+  let t6553 := (t6550 + t6545)
+  let t6554 := (t6553 + ((1 : α) * t72))
+  let t6556 := ((0 : α) * t6538)
+  let t6561 := ((0 : α) * t6535)
+  let t6564 := (t6561 + t6556)
+  let t6567 := ((0 : α) * t6544)
+  let t6572 := ((0 : α) * t6541)
+  let t6575 := (t6572 + t6567)
+  let t6578 := ((t6553 + t89) * (0 : α))
+  let t6596 := ((((t6548 * t331) + (t6552 * t321)) + (t6554 * t311)) + t6578)
+  let t6622 := ((((((((1 : α) * t6535) + t6556) + t2397) * t331) + (((t6561 + ((1 : α) * t6538)) + t2397) * t321)) + ((t6564 + ((1 : α) * t73)) * t311)) + ((t6564 + t2397) * (0 : α)))
+  ⟨t6525, (atan2 (sqrt ((t6596 * t6596) + (t6622 * t6622))) ((((((((1 : α) * t6541) + t6567) + t95) * t331) + (((t6572 + ((1 : α) * t6544)) + t95) * t321)) + ((t6575 + ((1 : α) * t70)) * t311)) + ((t6575 + t95) * (0 : α)))), (atan2 ((((t6548 * ((2 : α) * (t327 + t326))) + (t6552 * ((1 : α) - ((2 : α) * (t322 + t306))))) + (t6554 * ((2 : α) * (t313 - t312)))) + t6578) ((((t6548 * ((1 : α) - ((2 : α) * (t307 + t322)))) + (t6552 * ((2 : α) * (t327 - t326)))) + (t6554 * ((2 : α) * (t317 + t316)))) + t6578))⟩
 
 /-- extracted from the C++ template at T = Sym; 1 path(s) -/
 def Euler.ctorXYZLayout_ZXZ {α : Type} (v : V3 α) : ((V3 α) × Int) :=
@@ -4661,36 +3926,36 @@ def Euler.reorderFromXYZ_ZXZ {α : Type} [Add α] [Sub α] [Mul α] [Neg α] [Of
   let t73 := (t66 * t68)
   let t89 := ((0 : α) * t72)
   let t95 := ((0 : α) * t70)
-  let t2422 := ((0 : α) * t73)
-  let t6707 := (atan2 t25 t26)
-  let t6708 := (-t6707)
-  let t6709 := (cos t6708)
-  let t6710 := (sin t6708)
-  let t6711 := (t6709 * t66)
-  let t6712 := (t6710 * t66)
-  let t6713 := (t6709 * t68)
-  let t6715 := (-t6710)
-  let t6717 := ((t6715 * t66) + (t6713 * t68))
-  let t6718 := (t6710 * t68)
-  let t6720 := (t6711 + (t6718 * t68))
-  let t6723 := ((t6715 * t72) + (t6713 * t66))
-  let t6726 := ((t6709 * t72) + (t6718 * t66))
-  let t6727 := ((0 : α) * t6712)
-  let t6730 := ((((1 : α) * t6711) + t6727) + t89)
-  let t6732 := ((0 : α) * t6711)
-  let t6734 := ((t6732 + ((1 : α) * t6712)) + t89)
-  let t6735 := (t6732 + t6727)
-  let t6736 := (t6735 + ((1 : α) * t72))
-  let t6738 := ((0 : α) * t6720)
-  let t6743 := ((0 : α) * t6717)
-  let t6746 := (t6743 + t6738)
-  let t6749 := ((0 : α) * t6726)
-  let t6754 := ((0 : α) * t6723)
-  let t6757 := (t6754 + t6749)
-  let t6760 := ((t6735 + t89) * (0 : α))
-  let t6778 := ((((t6730 * t25) + (t6734 * t26)) + (t6736 * t27)) + t6760)
-  let t6804 := ((((((((1 : α) * t6717) + t6738) + t2422) * t25) + (((t6743 + ((1 : α) * t6720)) + t2422) * t26)) + ((t6746 + ((1 : α) * t73)) * t27)) + ((t6746 + t2422) * (0 : α)))
-  (⟨t6707, (atan2 (sqrt ((t6778 * t6778) + (t6804 * t6804))) ((((((((1 : α) * t6723) + t6749) + t95) * t25) + (((t6754 + ((1 : α) * t6726)) + t95) * t26)) + ((t6757 + ((1 : α) * t70)) * t27)) + ((t6757 + t95) * (0 : α)))), (atan2 ((((t6730 * (t5 * t9)) + (t6734 * ((t8 * t13) + t10))) + (t6736 * ((t8 * t11) - t12))) + t6760) ((((t6730 * (t5 * t6)) + (t6734 * ((t8 * t12) - t11))) + (t6736 * ((t8 * t10) + t13))) + t6760))⟩, (8465 : Int))
+  let t2397 := ((0 : α) * t73)
+  let t6662 := (atan2 t25 t26)
+  let t6663 := (-t6662)
+  let t6664 := (cos t6663)
+  let t6665 := (sin t6663)
+  let t6666 := (t6664 * t66)
+  let t6667 := (t6665 * t66)
+  let t6668 := (t6664 * t68)
+  let t6670 := (-t6665)
+  let t6672 := ((t6670 * t66) + (t6668 * t68))
+  let t6673 := (t6665 * t68)
+  let t6675 := (t6666 + (t6673 * t68))
+  let t6678 := ((t6670 * t72) + (t6668 * t66))
+  let t6681 := ((t6664 * t72) + (t6673 * t66))
+  let t6682 := ((0 : α) * t6667)
+  let t6685 := ((((1 : α) * t6666) + t6682) + t89)
+  let t6687 := ((0 : α) * t6666)
+  let t6689 := ((t6687 + ((1 : α) * t6667)) + t89)
+  let t6690 := (t6687 + t6682)
+  let t6691 := (t6690 + ((1 : α) * t72))
+  let t6693 := ((0 : α) * t6675)
+  let t6698 := ((0 : α) * t6672)
+  let t6701 := (t6698 + t6693)
+  let t6704 := ((0 : α) * t6681)
+  let t6709 := ((0 : α) * t6678)
+  let t6712 := (t6709 + t6704)
+  let t6715 := ((t6690 + t89) * (0 : α))
+  let t6733 := ((((t6685 * t25) + (t6689 * t26)) + (t6691 * t27)) + t6715)
+  let t6759 := ((((((((1 : α) * t6672) + t6693) + t2397) * t25) + (((t6698 + ((1 : α) * t6675)) + t2397) * t26)) + ((t6701 + ((1 : α) * t73)) * t27)) + ((t6701 + t2397) * (0 : α)))
+  (⟨t6662, (atan2 (sqrt ((t6733 * t6733) + (t6759 * t6759))) ((((((((1 : α) * t6678) + t6704) + t95) * t25) + (((t6709 + ((1 : α) * t6681)) + t95) * t26)) + ((t6712 + ((1 : α) * t70)) * t27)) + ((t6712 + t95) * (0 : α)))), (atan2 ((((t6685 * (t5 * t9)) + (t6689 * ((t8 * t13) + t10))) + (t6691 * ((t8 * t11) - t12))) + t6715) ((((t6685 * (t5 * t6)) + (t6689 * ((t8 * t12) - t11))) + (t6691 * ((t8 * t10) + t13))) + t6715))⟩, (8465 : Int))
 
 /-- extracted from the C++ template at T = Sym; 1 path(s) -/
 def Euler.reorderToZYXr_ZXZ {α : Type} [Add α] [Sub α] [Mul α] [Neg α] [OfNat α 0] [OfNat α 1] (sqrt : α → α) (sin : α → α) (cos : α → α) (atan2 : α → α → α) (a : V3 α) : ((V3 α) × Int) :=
@@ -4717,66 +3982,47 @@ def Euler.reorderToZYXr_ZXZ {α : Type} [Add α] [Sub α] [Mul α] [Neg α] [OfN
   let t99 := (t95 + t90)
   let t100 := (t99 + ((1 : α) * t72))
   let t128 := ((t99 + t89) * (0 : α))
-  let t4086 := (t8 * t4)
-  let t4087 := (t8 * t9)
-  let t4088 := (-t5)
-  let t4090 := ((t4088 * t13) + t10)
-  let t4092 := ((t4088 * t11) - t12)
-  let t4093 := ((-t8) * t6)
-  let t4095 := ((t5 * t12) + t11)
-  let t4097 := ((t5 * t10) - t13)
-  let t6844 := (atan2 t4086 t5)
-  let t6845 := (-t6844)
-  let t6846 := (cos t6845)
-  let t6847 := (sin t6845)
-  let t6850 := ((t72 * t6846) + ((t66 * t68) * t6847))
-  let t6853 := ((t66 * t6846) + ((t68 * t68) * t6847))
-  let t6854 := (t66 * t6847)
-  let t6862 := ((0 : α) * t6854)
-  let t6863 := ((0 : α) * t6853)
-  let t6866 := ((((1 : α) * t6850) + t6863) + t6862)
-  let t6868 := ((0 : α) * t6850)
-  let t6870 := ((t6868 + ((1 : α) * t6853)) + t6862)
-  let t6872 := (t6868 + t6863)
-  let t6873 := (t6872 + ((1 : α) * t6854))
-  let t6893 := ((((t93 * t4090) + (t97 * t4092)) + (t100 * t4087)) + t128)
-  let t6899 := ((((t93 * t4095) + (t97 * t4097)) + (t100 * t4093)) + t128)
-  let t6906 := ((t6872 + t6862) * (0 : α))
-  (⟨(atan2 (-((((t6866 * t4090) + (t6870 * t4092)) + (t6873 * t4087)) + t6906)) ((((t6866 * t4095) + (t6870 * t4097)) + (t6873 * t4093)) + t6906)), (atan2 (-((((t93 * (t8 * t7)) + (t97 * t4086)) + (t100 * t5)) + t128)) (sqrt ((t6893 * t6893) + (t6899 * t6899)))), t6844⟩, (256 : Int))
+  let t4045 := (t8 * t4)
+  let t4047 := (-t5)
+  let t4049 := ((t4047 * t13) + t10)
+  let t4054 := ((t5 * t12) + t11)
+  let t6848 := ((((t93 * t4049) + (t97 * ((t4047 * t11) - t12))) + (t100 * (t8 * t9))) + t128)
+  let t6854 := ((((t93 * t4054) + (t97 * ((t5 * t10) - t13))) + (t100 * ((-t8) * t6))) + t128)
+  (⟨(atan2 t4054 t4049), (atan2 (-((((t93 * (t8 * t7)) + (t97 * t4045)) + (t100 * t5)) + t128)) (sqrt ((t6848 * t6848) + (t6854 * t6854)))), (atan2 t4045 t5)⟩, (256 : Int))
 
 /-- extracted from the C++ template at T = Sym; 1 path(s) -/
 def Euler.toMatrix33_XYZr {α : Type} [Add α] [Sub α] [Mul α] [Neg α] [OfNat α 1] (sin : α → α) (cos : α → α) (a : V3 α) : (M33 α) :=
-  let t627 := (a.x * (-(1 : α)))
-  let t628 := (a.y * (-(1 : α)))
-  let t629 := (a.z * (-(1 : α)))
-  let t630 := (cos t627)
-  let t631 := (cos t628)
-  let t632 := (cos t629)
-  let t633 := (sin t627)
-  let t634 := (sin t628)
-  let t635 := (sin t629)
-  let t6975 := (t632 * t630)
-  let t6976 := (t632 * t633)
-  let t6977 := (t635 * t630)
-  let t6978 := (t635 * t633)
-  ⟨(t631 * t632), ((t634 * t6976) - t6977), ((t634 * t6975) + t6978), (t631 * t635), ((t634 * t6978) + t6975), ((t634 * t6977) - t6976), (-t634), (t631 * t633), (t631 * t630)⟩
+  let t622 := (a.x * (-(1 : α)))
+  let t623 := (a.y * (-(1 : α)))
+  let t624 := (a.z * (-(1 : α)))
+  let t625 := (cos t622)
+  let t626 := (cos t623)
+  let t627 := (cos t624)
+  let t628 := (sin t622)
+  let t629 := (sin t623)
+  let t630 := (sin t624)
+  let t6929 := (t627 * t625)
+  let t6930 := (t627 * t628)
+  let t6931 := (t630 * t625)
+  let t6932 := (t630 * t628)
+  ⟨(t626 * t627), ((t629 * t6930) - t6931), ((t629 * t6929) + t6932), (t626 * t630), ((t629 * t6932) + t6929), ((t629 * t6931) - t6930), (-t629), (t626 * t628), (t626 * t625)⟩
 
 /-- extracted from the C++ template at T = Sym; 1 path(s) -/
 def Euler.toMatrix44_XYZr {α : Type} [Add α] [Sub α] [Mul α] [Neg α] [OfNat α 0] [OfNat α 1] (sin : α → α) (cos : α → α) (a : V3 α) : (M44 α) :=
-  let t627 := (a.x * (-(1 : α)))
-  let t628 := (a.y * (-(1 : α)))
-  let t629 := (a.z * (-(1 : α)))
-  let t630 := (cos t627)
-  let t631 := (cos t628)
-  let t632 := (cos t629)
-  let t633 := (sin t627)
-  let t634 := (sin t628)
-  let t635 := (sin t629)
-  let t6975 := (t632 * t630)
-  let t6976 := (t632 * t633)
-  let t6977 := (t635 * t630)
-  let t6978 := (t635 * t633)
-  ⟨(t631 * t632), ((t634 * t6976) - t6977), ((t634 * t6975) + t6978), (0 : α), (t631 * t635), ((t634 * t6978) + t6975), ((t634 * t6977) - t6976), (0 : α), (-t634), (t631 * t633), (t631 * t630), (0 : α), (0 : α), (0 : α), (0 : α), (1 : α)⟩
+  let t622 := (a.x * (-(1 : α)))
+  let t623 := (a.y * (-(1 : α)))
+  let t624 := (a.z * (-(1 : α)))
+  let t625 := (cos t622)
+  let t626 := (cos t623)
+  let t627 := (cos t624)
+  let t628 := (sin t622)
+  let t629 := (sin t623)
+  let t630 := (sin t624)
+  let t6929 := (t627 * t625)
+  let t6930 := (t627 * t628)
+  let t6931 := (t630 * t625)
+  let t6932 := (t630 * t628)
+  ⟨(t626 * t627), ((t629 * t6930) - t6931), ((t629 * t6929) + t6932), (0 : α), (t626 * t630), ((t629 * t6932) + t6929), ((t629 * t6931) - t6930), (0 : α), (-t629), (t626 * t628), (t626 * t625), (0 : α), (0 : α), (0 : α), (0 : α), (1 : α)⟩
 
 /-- extracted from the C++ template at T = Sym; 1 path(s) -/
 def Euler.toQuat_XYZr {α : Type} [Add α] [Sub α] [Mul α] [Div α] [Neg α] [OfNat α 1] [OfNat α 2] (sin : α → α) (cos : α → α) (a : V3 α) : (Quat α) :=
@@ -4786,14 +4032,14 @@ def Euler.toQuat_XYZr {α : Type} [Add α] [Sub α] [Mul α] [Div α] [Neg α] [
   let t34 := (cos t31)
   let t35 := (sin t29)
   let t37 := (sin t31)
-  let t654 := ((-a.y) * ((1 : α) / (2 : α)))
-  let t655 := (cos t654)
-  let t656 := (sin t654)
-  let t6987 := (t34 * t32)
-  let t6988 := (t34 * t35)
-  let t6989 := (t37 * t32)
-  let t6990 := (t37 * t35)
-  ⟨((t655 * t6987) + (t656 * t6990)), ⟨((t655 * t6988) - (t656 * t6989)), (((t655 * t6990) + (t656 * t6987)) * (-(1 : α))), ((t655 * t6989) - (t656 * t6988))⟩⟩
+  let t649 := ((-a.y) * ((1 : α) / (2 : α)))
+  let t650 := (cos t649)
+  let t651 := (sin t649)
+  let t6941 := (t34 * t32)
+  let t6942 := (t34 * t35)
+  let t6943 := (t37 * t32)
+  let t6944 := (t37 * t35)
+  ⟨((t650 * t6941) + (t651 * t6944)), ⟨((t650 * t6942) - (t651 * t6943)), (((t650 * t6944) + (t651 * t6941)) * (-(1 : α))), ((t650 * t6943) - (t651 * t6942))⟩⟩
 
 /-- extracted from the C++ template at T = Sym; 1 path(s) -/
 def Euler.extractM33_XYZr {α : Type} [Add α] [Mul α] [Neg α] [OfNat α 0] [OfNat α 1] (sqrt : α → α) (sin : α → α) (cos : α → α) (atan2 : α → α → α) (m : M33 α) : (V3 α) :=
@@ -4801,36 +4047,22 @@ def Euler.extractM33_XYZr {α : Type} [Add α] [Mul α] [Neg α] [OfNat α 0] [O
   let t68 := (sin (0 : α))
   let t70 := (t66 * t66)
   let t72 := (-t68)
-  let t73 := (t66 * t68)
   let t95 := ((0 : α) * t70)
-  let t2422 := ((0 : α) * t73)
-  let t2974 := (atan2 m.x10 m.x00)
-  let t2975 := (cos t2974)
-  let t2976 := (sin t2974)
-  let t2979 := (t2975 * t68)
-  let t2981 := (-t2976)
-  let t2983 := ((t2981 * t66) + (t2979 * t68))
-  let t2984 := (t2976 * t68)
-  let t2986 := ((t2975 * t66) + (t2984 * t68))
-  let t2989 := ((t2981 * t72) + (t2979 * t66))
-  let t2992 := ((t2975 * t72) + (t2984 * t66))
-  let t3004 := ((0 : α) * t2986)
-  let t3007 := ((((1 : α) * t2983) + t3004) + t2422)
-  let t3009 := ((0 : α) * t2983)
-  let t3011 := ((t3009 + ((1 : α) * t2986)) + t2422)
-  let t3012 := (t3009 + t3004)
-  let t3013 := (t3012 + ((1 : α) * t73))
-  let t3015 := ((0 : α) * t2992)
-  let t3018 := ((((1 : α) * t2989) + t3015) + t95)
-  let t3020 := ((0 : α) * t2989)
-  let t3022 := ((t3020 + ((1 : α) * t2992)) + t95)
-  let t3023 := (t3020 + t3015)
-  let t3024 := (t3023 + ((1 : α) * t70))
-  let t3052 := ((t3012 + t2422) * (0 : α))
-  let t3078 := ((t3023 + t95) * (0 : α))
-  let t3090 := ((((t3018 * m.x01) + (t3022 * m.x11)) + (t3024 * m.x21)) + t3078)
-  let t3096 := ((((t3018 * m.x02) + (t3022 * m.x12)) + (t3024 * m.x22)) + t3078)
-  ⟨((atan2 (-((((t3007 * m.x02) + (t3011 * m.x12)) + (t3013 * m.x22)) + t3052)) ((((t3007 * m.x01) + (t3011 * m.x11)) + (t3013 * m.x21)) + t3052)) * (-(1 : α))), ((atan2 (-((((t3018 * m.x00) + (t3022 * m.x10)) + (t3024 * m.x20)) + t3078)) (sqrt ((t3096 * t3096) + (t3090 * t3090)))) * (-(1 : α))), (t2974 * (-(1 : α)))⟩
+  let t2941 := (atan2 m.x10 m.x00)
+  let t2942 := (cos t2941)
+  let t2943 := (sin t2941)
+  let t2956 := (((-t2943) * t72) + ((t2942 * t68) * t66))
+  let t2959 := ((t2942 * t72) + ((t2943 * t68) * t66))
+  let t2982 := ((0 : α) * t2959)
+  let t2985 := ((((1 : α) * t2956) + t2982) + t95)
+  let t2987 := ((0 : α) * t2956)
+  let t2989 := ((t2987 + ((1 : α) * t2959)) + t95)
+  let t2990 := (t2987 + t2982)
+  let t2991 := (t2990 + ((1 : α) * t70))
+  let t3045 := ((t2990 + t95) * (0 : α))
+  let t3057 := ((((t2985 * m.x01) + (t2989 * m.x11)) + (t2991 * m.x21)) + t3045)
+  let t3063 := ((((t2985 * m.x02) + (t2989 * m.x12)) + (t2991 * m.x22)) + t3045)
+  ⟨((atan2 m.x21 m.x22) * (-(1 : α))), ((atan2 (-((((t2985 * m.x00) + (t2989 * m.x10)) + (t2991 * m.x20)) + t3045)) (sqrt ((t3063 * t3063) + (t3057 * t3057)))) * (-(1 : α))), (t2941 * (-(1 : α)))⟩
 
 /-- extracted from the C++ template at T = Sym; 1 path(s) -/
 def Euler.extractM44_XYZr {α : Type} [Add α] [Mul α] [Neg α] [OfNat α 0] [OfNat α 1] (sqrt : α → α) (sin : α → α) (cos : α → α) (atan2 : α → α → α) (m : M44 α) : (V3 α) :=
@@ -4838,36 +4070,22 @@ def Euler.extractM44_XYZr {α : Type} [Add α] [Mul α] [Neg α] [OfNat α 0] [O
   let t68 := (sin (0 : α))
   let t70 := (t66 * t66)
   let t72 := (-t68)
-  let t73 := (t66 * t68)
   let t95 := ((0 : α) * t70)
-  let t2422 := ((0 : α) * t73)
-  let t2974 := (atan2 m.x10 m.x00)
-  let t2975 := (cos t2974)
-  let t2976 := (sin t2974)
-  let t2979 := (t2975 * t68)
-  let t2981 := (-t2976)
-  let t2983 := ((t2981 * t66) + (t2979 * t68))
-  let t2984 := (t2976 * t68)
-  let t2986 := ((t2975 * t66) + (t2984 * t68))
-  let t2989 := ((t2981 * t72) + (t2979 * t66))
-  let t2992 := ((t2975 * t72) + (t2984 * t66))
-  let t3004 := ((0 : α) * t2986)
-  let t3007 := ((((1 : α) * t2983) + t3004) + t2422)
-  let t3009 := ((0 : α) * t2983)
-  let t3011 := ((t3009 + ((1 : α) * t2986)) + t2422)
-  let t3012 := (t3009 + t3004)
-  let t3013 := (t3012 + ((1 : α) * t73))
-  let t3014 := (t3012 + t2422)
-  let t3015 := ((0 : α) * t2992)
-  let t3018 := ((((1 : α) * t2989) + t3015) + t95)
-  let t3020 := ((0 : α) * t2989)
-  let t3022 := ((t3020 + ((1 : α) * t2992)) + t95)
-  let t3023 := (t3020 + t3015)
-  let t3024 := (t3023 + ((1 : α) * t70))
-  let t3025 := (t3023 + t95)
-  let t3144 := ((((t3018 * m.x01) + (t3022 * m.x11)) + (t3024 * m.x21)) + (t3025 * m.x31))
-  let t3146 := ((((t3018 * m.x02) + (t3022 * m.x12)) + (t3024 * m.x22)) + (t3025 * m.x32))
-  ⟨((atan2 (-((((t3007 * m.x02) + (t3011 * m.x12)) + (t3013 * m.x22)) + (t3014 * m.x32))) ((((t3007 * m.x01) + (t3011 * m.x11)) + (t3013 * m.x21)) + (t3014 * m.x31))) * (-(1 : α))), ((atan2 (-((((t3018 * m.x00) + (t3022 * m.x10)) + (t3024 * m.x20)) + (t3025 * m.x30))) (sqrt ((t3146 * t3146) + (t3144 * t3144)))) * (-(1 : α))), (t2974 * (-(1 : α)))⟩
+  let t2941 := (atan2 m.x10 m.x00)
+  let t2942 := (cos t2941)
+  let t2943 := (sin t2941)
+  let t2956 := (((-t2943) * t72) + ((t2942 * t68) * t66))
+  let t2959 := ((t2942 * t72) + ((t2943 * t68) * t66))
+  let t2982 := ((0 : α) * t2959)
+  let t2985 := ((((1 : α) * t2956) + t2982) + t95)
+  let t2987 := ((0 : α) * t2956)
+  let t2989 := ((t2987 + ((1 : α) * t2959)) + t95)
+  let t2990 := (t2987 + t2982)
+  let t2991 := (t2990 + ((1 : α) * t70))
+  let t2992 := (t2990 + t95)
+  let t3110 := ((((t2985 * m.x01) + (t2989 * m.x11)) + (t2991 * m.x21)) + (t2992 * m.x31))
+  let t3112 := ((((t2985 * m.x02) + (t2989 * m.x12)) + (t2991 * m.x22)) + (t2992 * m.x32))
+  ⟨((atan2 m.x21 m.x22) * (-(1 : α))), ((atan2 (-((((t2985 * m.x00) + (t2989 * m.x10)) + (t2991 * m.x20)) + (t2992 * m.x30))) (sqrt ((t3112 * t3112) + (t3110 * t3110)))) * (-(1 : α))), (t2941 * (-(1 : α)))⟩
 
 /-- extracted from the C++ template at T = Sym; 1 path(s) -/
 def Euler.ctorM33_XYZr {α : Type} [Add α] [Mul α] [Neg α] [OfNat α 0] [OfNat α 1] (sqrt : α → α) (sin : α → α) (cos : α → α) (atan2 : α → α → α) (m : M33 α) : ((V3 α) × Int) :=
@@ -4875,36 +4093,22 @@ def Euler.ctorM33_XYZr {α : Type} [Add α] [Mul α] [Neg α] [OfNat α 0] [OfNa
   let t68 := (sin (0 : α))
   let t70 := (t66 * t66)
   let t72 := (-t68)
-  let t73 := (t66 * t68)
   let t95 := ((0 : α) * t70)
-  let t2422 := ((0 : α) * t73)
-  let t2974 := (atan2 m.x10 m.x00)
-  let t2975 := (cos t2974)
-  let t2976 := (sin t2974)
-  let t2979 := (t2975 * t68)
-  let t2981 := (-t2976)
-  let t2983 := ((t2981 * t66) + (t2979 * t68))
-  let t2984 := (t2976 * t68)
-  let t2986 := ((t2975 * t66) + (t2984 * t68))
-  let t2989 := ((t2981 * t72) + (t2979 * t66))
-  let t2992 := ((t2975 * t72) + (t2984 * t66))
-  let t3004 := ((0 : α) * t2986)
-  let t3007 := ((((1 : α) * t2983) + t3004) + t2422)
-  let t3009 := ((0 : α) * t2983)
-  let t3011 := ((t3009 + ((1 : α) * t2986)) + t2422)
-  let t3012 := (t3009 + t3004)
-  let t3013 := (t3012 + ((1 : α) * t73))
-  let t3015 := ((0 : α) * t2992)
-  let t3018 := ((((1 : α) * t2989) + t3015) + t95)
-  let t3020 := ((0 : α) * t2989)
-  let t3022 := ((t3020 + ((1 : α) * t2992)) + t95)
-  let t3023 := (t3020 + t3015)
-  let t3024 := (t3023 + ((1 : α) * t70))
-  let t3052 := ((t3012 + t2422) * (0 : α))
-  let t3078 := ((t3023 + t95) * (0 : α))
-  let t3090 := ((((t3018 * m.x01) + (t3022 * m.x11)) + (t3024 * m.x21)) + t3078)
-  let t3096 := ((((t3018 * m.x02) + (t3022 * m.x12)) + (t3024 * m.x22)) + t3078)
-  (⟨((atan2 (-((((t3007 * m.x02) + (t3011 * m.x12)) + (t3013 * m.x22)) + t3052)) ((((t3007 * m.x01) + (t3011 * m.x11)) + (t3013 * m.x21)) + t3052)) * (-(1 : α))), ((atan2 (-((((t3018 * m.x00) + (t3022 * m.x10)) + (t3024 * m.x20)) + t3078)) (sqrt ((t3096 * t3096) + (t3090 * t3090)))) * (-(1 : α))), (t2974 * (-(1 : α)))⟩, (8192 : Int))
+  let t2941 := (atan2 m.x10 m.x00)
+  let t2942 := (cos t2941)
+  let t2943 := (sin t2941)
+  let t2956 := (((-t2943) * t72) + ((t2942 * t68) * t66))
+  let t2959 := ((t2942 * t72) + ((t2943 * t68) * t66))
+  let t2982 := ((0 : α) * t2959)
+  let t2985 := ((((1 : α) * t2956) + t2982) + t95)
+  let t2987 := ((0 : α) * t2956)
+  let t2989 := ((t2987 + ((1 : α) * t2959)) + t95)
+  let t2990 := (t2987 + t2982)
+  let t2991 := (t2990 + ((1 : α) * t70))
+  let t3045 := ((t2990 + t95) * (0 : α))
+  let t3057 := ((((t2985 * m.x01) + (t2989 * m.x11)) + (t2991 * m.x21)) + t3045)
+  let t3063 := ((((t2985 * m.x02) + (t2989 * m.x12)) + (t2991 * m.x22)) + t3045)
+  (⟨((atan2 m.x21 m.x22) * (-(1 : α))), ((atan2 (-((((t2985 * m.x00) + (t2989 * m.x10)) + (t2991 * m.x20)) + t3045)) (sqrt ((t3063 * t3063) + (t3057 * t3057)))) * (-(1 : α))), (t2941 * (-(1 : α)))⟩, (8192 : Int))
 
 /-- extracted from the C++ template at T = Sym; 1 path(s) -/
 def Euler.ctorM44_XYZr {α : Type} [Add α] [Mul α] [Neg α] [OfNat α 0] [OfNat α 1] (sqrt : α → α) (sin : α → α) (cos : α → α) (atan2 : α → α → α) (m : M44 α) : ((V3 α) × Int) :=
@@ -4912,36 +4116,22 @@ def Euler.ctorM44_XYZr {α : Type} [Add α] [Mul α] [Neg α] [OfNat α 0] [OfNa
   let t68 := (sin (0 : α))
   let t70 := (t66 * t66)
   let t72 := (-t68)
-  let t73 := (t66 * t68)
   let t95 := ((0 : α) * t70)
-  let t2422 := ((0 : α) * t73)
-  let t2974 := (atan2 m.x10 m.x00)
-  let t2975 := (cos t2974)
-  let t2976 := (sin t2974)
-  let t2979 := (t2975 * t68)
-  let t2981 := (-t2976)
-  let t2983 := ((t2981 * t66) + (t2979 * t68))
-  let t2984 := (t2976 * t68)
-  let t2986 := ((t2975 * t66) + (t2984 * t68))
-  let t2989 := ((t2981 * t72) + (t2979 * t66))
-  let t2992 := ((t2975 * t72) + (t2984 * t66))
-  let t3004 := ((0 : α) * t2986)
-  let t3007 := ((((1 : α) * t2983) + t3004) + t2422)
-  let t3009 := ((0 : α) * t2983)
-  let t3011 := ((t3009 + ((1 : α) * t2986)) + t2422)
-  let t3012 := (t3009 + t3004)
-  let t3013 := (t3012 + ((1 : α) * t73))
-  let t3014 := (t3012 + t2422)
-  let t3015 := ((0 : α) * t2992)
-  let t3018 := ((((1 : α) * t2989) + t3015) + t95)
-  let t3020 := ((0 : α) * t2989)
-  let t3022 := ((t3020 + ((1 : α) * t2992)) + t95)
-  let t3023 := (t3020 + t3015)
-  let t3024 := (t3023 + ((1 : α) * t70))
-  let t3025 := (t3023 + t95)
-  let t3144 := ((((t3018 * m.x01) + (t3022 * m.x11)) + (t3024 * m.x21)) + (t3025 * m.x31))
-  let t3146 := ((((t3018 * m.x02) + (t3022 * m.x12)) + (t3024 * m.x22)) + (t3025 * m.x32))
-  (⟨((atan2 (-((((t3007 * m.x02) + (t3011 * m.x12)) + (t3013 * m.x22)) + (t3014 * m.x32))) ((((t3007 * m.x01) + (t3011 * m.x11)) + (t3013 * m.x21)) + (t3014 * m.x31))) * (-(1 : α))), ((atan2 (-((((t3018 * m.x00) + (t3022 * m.x10)) + (t3024 * m.x20)) + (t3025 * m.x30))) (sqrt ((t3146 * t3146) + (t3144 * t3144)))) * (-(1 : α))), (t2974 * (-(1 : α)))⟩, (8192 : Int))
+  let t2941 := (atan2 m.x10 m.x00)
+  let t2942 := (cos t2941)
+  let t2943 := (sin t2941)
+  let t2956 := (((-t2943) * t72) + ((t2942 * t68) * t66))
+  let t2959 := ((t2942 * t72) + ((t2943 * t68) * t66))
+  let t2982 := ((0 : α) * t2959)
+  let t2985 := ((((1 : α) * t2956) + t2982) + t95)
+  let t2987 := ((0 : α) * t2956)
+  let t2989 := ((t2987 + ((1 : α) * t2959)) + t95)
+  let t2990 := (t2987 + t2982)
+  let t2991 := (t2990 + ((1 : α) * t70))
+  let t2992 := (t2990 + t95)
+  let t3110 := ((((t2985 * m.x01) + (t2989 * m.x11)) + (t2991 * m.x21)) + (t2992 * m.x31))
+  let t3112 := ((((t2985 * m.x02) + (t2989 * m.x12)) + (t2991 * m.x22)) + (t2992 * m.x32))
+  (⟨((atan2 m.x21 m.x22) * (-(1 : α))), ((atan2 (-((((t2985 * m.x00) + (t2989 * m.x10)) + (t2991 * m.x20)) + (t2992 * m.x30))) (sqrt ((t3112 * t3112) + (t3110 * t3110)))) * (-(1 : α))), (t2941 * (-(1 : α)))⟩, (8192 : Int))
 
 /-- extracted from the C++ template at T = Sym; 1 path(s) -/
 def Euler.extractQuat_XYZr {α : Type} [Add α] [Sub α] [Mul α] [Neg α] [OfNat α 0] [OfNat α 1] [OfNat α 2] (sqrt : α → α) (sin : α → α) (cos : α → α) (atan2 : α → α → α) (q : Quat α) : (V3 α) :=
@@ -4949,53 +4139,35 @@ def Euler.extractQuat_XYZr {α : Type} [Add α] [Sub α] [Mul α] [Neg α] [OfNa
   let t68 := (sin (0 : α))
   let t70 := (t66 * t66)
   let t72 := (-t68)
-  let t73 := (t66 * t68)
   let t95 := ((0 : α) * t70)
-  let t309 := (q.v.x * q.v.x)
-  let t310 := (q.v.y * q.v.y)
-  let t314 := ((1 : α) - ((2 : α) * (t310 + t309)))
-  let t315 := (q.v.x * q.r)
-  let t316 := (q.v.y * q.v.z)
-  let t318 := ((2 : α) * (t316 - t315))
-  let t319 := (q.v.y * q.r)
-  let t320 := (q.v.z * q.v.x)
-  let t324 := ((2 : α) * (t316 + t315))
-  let t325 := (q.v.z * q.v.z)
-  let t328 := ((1 : α) - ((2 : α) * (t325 + t309)))
-  let t329 := (q.v.z * q.r)
-  let t330 := (q.v.x * q.v.y)
-  let t332 := ((2 : α) * (t330 - t329))
-  let t334 := ((2 : α) * (t320 - t319))
-  let t336 := ((2 : α) * (t330 + t329))
-  let t339 := ((1 : α) - ((2 : α) * (t310 + t325)))
-  let t2422 := ((0 : α) * t73)
-  let t3164 := (atan2 t332 t339)
-  let t3165 := (cos t3164)
-  let t3166 := (sin t3164)
-  let t3169 := (t3165 * t68)
-  let t3171 := (-t3166)
-  let t3173 := ((t3171 * t66) + (t3169 * t68))
-  let t3174 := (t3166 * t68)
-  let t3176 := ((t3165 * t66) + (t3174 * t68))
-  let t3179 := ((t3171 * t72) + (t3169 * t66))
-  let t3182 := ((t3165 * t72) + (t3174 * t66))
-  let t3194 := ((0 : α) * t3176)
-  let t3197 := ((((1 : α) * t3173) + t3194) + t2422)
-  let t3199 := ((0 : α) * t3173)
-  let t3201 := ((t3199 + ((1 : α) * t3176)) + t2422)
-  let t3202 := (t3199 + t3194)
-  let t3203 := (t3202 + ((1 : α) * t73))
-  let t3205 := ((0 : α) * t3182)
-  let t3208 := ((((1 : α) * t3179) + t3205) + t95)
-  let t3210 := ((0 : α) * t3179)
-  let t3212 := ((t3210 + ((1 : α) * t3182)) + t95)
-  let t3213 := (t3210 + t3205)
-  let t3214 := (t3213 + ((1 : α) * t70))
-  let t3242 := ((t3202 + t2422) * (0 : α))
-  let t3268 := ((t3213 + t95) * (0 : α))
-  let t3280 := ((((t3208 * t336) + (t3212 * t328)) + (t3214 * t318)) + t3268)
-  let t3286 := ((((t3208 * t334) + (t3212 * t324)) + (t3214 * t314)) + t3268)
-  ⟨((atan2 (-((((t3197 * t334) + (t3201 * t324)) + (t3203 * t314)) + t3242)) ((((t3197 * t336) + (t3201 * t328)) + (t3203 * t318)) + t3242)) * (-(1 : α))), ((atan2 (-((((t3208 * t339) + (t3212 * t332)) + (t3214 * ((2 : α) * (t320 + t319)))) + t3268)) (sqrt ((t3286 * t3286) + (t3280 * t3280)))) * (-(1 : α))), (t3164 * (-(1 : α)))⟩
+  let t306 := (q.v.x * q.v.x)
+  let t307 := (q.v.y * q.v.y)
+  let t311 := ((1 : α) - ((2 : α) * (t307 + t306)))
+  let t312 := (q.v.x * q.r)
+  let t313 := (q.v.y * q.v.z)
+  let t315 := ((2 : α) * (t313 - t312))
+  let t316 := (q.v.y * q.r)
+  let t317 := (q.v.z * q.v.x)
+  let t322 := (q.v.z * q.v.z)
+  let t326 := (q.v.z * q.r)
+  let t327 := (q.v.x * q.v.y)
+  let t329 := ((2 : α) * (t327 - t326))
+  let t336 := ((1 : α) - ((2 : α) * (t307 + t322)))
+  let t3127 := (atan2 t329 t336)
+  let t3128 := (cos t3127)
+  let t3129 := (sin t3127)
+  let t3142 := (((-t3129) * t72) + ((t3128 * t68) * t66))
+  let t3145 := ((t3128 * t72) + ((t3129 * t68) * t66))
+  let t3168 := ((0 : α) * t3145)
+  let t3171 := ((((1 : α) * t3142) + t3168) + t95)
+  let t3173 := ((0 : α) * t3142)
+  let t3175 := ((t3173 + ((1 : α) * t3145)) + t95)
+  let t3176 := (t3173 + t3168)
+  let t3177 := (t3176 + ((1 : α) * t70))
+  let t3231 := ((t3176 + t95) * (0 : α))
+  let t3243 := ((((t3171 * ((2 : α) * (t327 + t326))) + (t3175 * ((1 : α) - ((2 : α) * (t322 + t306))))) + (t3177 * t315)) + t3231)
+  let t3249 := ((((t3171 * ((2 : α) * (t317 - t316))) + (t3175 * ((2 : α) * (t313 + t312)))) + (t3177 * t311)) + t3231)
+  ⟨((atan2 t315 t311) * (-(1 : α))), ((atan2 (-((((t3171 * t336) + (t3175 * t329)) + (t3177 * ((2 : α) * (t317 + t316)))) + t3231)) (sqrt ((t3249 * t3249) + (t3243 * t3243)))) * (-(1 : α))), (t3127 * (-(1 : α)))⟩
 
 /-- extracted from the C++ template at T = Sym; 1 path(s) -/
 def Euler.ctorXYZLayout_XYZr {α : Type} (v : V3 α) : ((V3 α) × Int) :=
@@ -5051,46 +4223,28 @@ def Euler.reorderFromXYZ_XYZr {α : Type} [Add α] [Sub α] [Mul α] [Neg α] [O
   let t13 := (t7 * t9)
   let t15 := (t5 * t6)
   let t17 := ((t8 * t12) - t11)
-  let t20 := (t5 * t9)
-  let t22 := ((t8 * t13) + t10)
   let t24 := ((t8 * t11) - t12)
-  let t25 := (-t8)
-  let t26 := (t5 * t7)
   let t27 := (t5 * t4)
   let t66 := (cos (0 : α))
   let t68 := (sin (0 : α))
   let t70 := (t66 * t66)
   let t72 := (-t68)
-  let t73 := (t66 * t68)
   let t95 := ((0 : α) * t70)
-  let t2422 := ((0 : α) * t73)
-  let t3305 := (atan2 t17 t15)
-  let t3306 := (cos t3305)
-  let t3307 := (sin t3305)
-  let t3310 := (t3306 * t68)
-  let t3312 := (-t3307)
-  let t3314 := ((t3312 * t66) + (t3310 * t68))
-  let t3315 := (t3307 * t68)
-  let t3317 := ((t3306 * t66) + (t3315 * t68))
-  let t3320 := ((t3312 * t72) + (t3310 * t66))
-  let t3323 := ((t3306 * t72) + (t3315 * t66))
-  let t3335 := ((0 : α) * t3317)
-  let t3338 := ((((1 : α) * t3314) + t3335) + t2422)
-  let t3340 := ((0 : α) * t3314)
-  let t3342 := ((t3340 + ((1 : α) * t3317)) + t2422)
-  let t3343 := (t3340 + t3335)
-  let t3344 := (t3343 + ((1 : α) * t73))
-  let t3346 := ((0 : α) * t3323)
-  let t3349 := ((((1 : α) * t3320) + t3346) + t95)
-  let t3351 := ((0 : α) * t3320)
-  let t3353 := ((t3351 + ((1 : α) * t3323)) + t95)
-  let t3354 := (t3351 + t3346)
-  let t3355 := (t3354 + ((1 : α) * t70))
-  let t3383 := ((t3343 + t2422) * (0 : α))
-  let t3409 := ((t3354 + t95) * (0 : α))
-  let t3421 := ((((t3349 * t20) + (t3353 * t22)) + (t3355 * t24)) + t3409)
-  let t3427 := ((((t3349 * t25) + (t3353 * t26)) + (t3355 * t27)) + t3409)
-  (⟨((atan2 (-((((t3338 * t25) + (t3342 * t26)) + (t3344 * t27)) + t3383)) ((((t3338 * t20) + (t3342 * t22)) + (t3344 * t24)) + t3383)) * (-(1 : α))), ((atan2 (-((((t3349 * t15) + (t3353 * t17)) + (t3355 * ((t8 * t10) + t13))) + t3409)) (sqrt ((t3427 * t3427) + (t3421 * t3421)))) * (-(1 : α))), (t3305 * (-(1 : α)))⟩, (8192 : Int))
+  let t3267 := (atan2 t17 t15)
+  let t3268 := (cos t3267)
+  let t3269 := (sin t3267)
+  let t3282 := (((-t3269) * t72) + ((t3268 * t68) * t66))
+  let t3285 := ((t3268 * t72) + ((t3269 * t68) * t66))
+  let t3308 := ((0 : α) * t3285)
+  let t3311 := ((((1 : α) * t3282) + t3308) + t95)
+  let t3313 := ((0 : α) * t3282)
+  let t3315 := ((t3313 + ((1 : α) * t3285)) + t95)
+  let t3316 := (t3313 + t3308)
+  let t3317 := (t3316 + ((1 : α) * t70))
+  let t3371 := ((t3316 + t95) * (0 : α))
+  let t3383 := ((((t3311 * (t5 * t9)) + (t3315 * ((t8 * t13) + t10))) + (t3317 * t24)) + t3371)
+  let t3389 := ((((t3311 * (-t8)) + (t3315 * (t5 * t7))) + (t3317 * t27)) + t3371)
+  (⟨((atan2 t24 t27) * (-(1 : α))), ((atan2 (-((((t3311 * t15) + (t3315 * t17)) + (t3317 * ((t8 * t10) + t13))) + t3371)) (sqrt ((t3389 * t3389) + (t3383 * t3383)))) * (-(1 : α))), (t3267 * (-(1 : α)))⟩, (8192 : Int))
 
 /-- extracted from the C++ template at T = Sym; 1 path(s) -/
 def Euler.reorderToZYXr_XYZr {α : Type} [Add α] [Sub α] [Mul α] [Neg α] [OfNat α 0] [OfNat α 1] (sqrt : α → α) (sin : α → α) (cos : α → α) (atan2 : α → α → α) (a : V3 α) : ((V3 α) × Int) :=
@@ -5107,45 +4261,26 @@ def Euler.reorderToZYXr_XYZr {α : Type} [Add α] [Sub α] [Mul α] [Neg α] [Of
   let t99 := (t95 + t90)
   let t100 := (t99 + ((1 : α) * t72))
   let t128 := ((t99 + t89) * (0 : α))
-  let t627 := (a.x * (-(1 : α)))
-  let t628 := (a.y * (-(1 : α)))
-  let t629 := (a.z * (-(1 : α)))
-  let t630 := (cos t627)
-  let t631 := (cos t628)
-  let t632 := (cos t629)
-  let t633 := (sin t627)
-  let t634 := (sin t628)
-  let t635 := (sin t629)
-  let t640 := (t631 * t632)
-  let t645 := (t631 * t635)
-  let t650 := (-t634)
-  let t651 := (t631 * t633)
-  let t652 := (t631 * t630)
-  let t6975 := (t632 * t630)
-  let t6976 := (t632 * t633)
-  let t6977 := (t635 * t630)
-  let t6978 := (t635 * t633)
-  let t6980 := ((t634 * t6977) - t6976)
-  let t6984 := ((t634 * t6978) + t6975)
-  let t6986 := ((t634 * t6976) - t6977)
-  let t7004 := (atan2 t6980 t652)
-  let t7005 := (-t7004)
-  let t7006 := (cos t7005)
-  let t7007 := (sin t7005)
-  let t7010 := ((t72 * t7006) + ((t66 * t68) * t7007))
-  let t7013 := ((t66 * t7006) + ((t68 * t68) * t7007))
-  let t7014 := (t66 * t7007)
-  let t7022 := ((0 : α) * t7014)
-  let t7023 := ((0 : α) * t7013)
-  let t7026 := ((((1 : α) * t7010) + t7023) + t7022)
-  let t7028 := ((0 : α) * t7010)
-  let t7030 := ((t7028 + ((1 : α) * t7013)) + t7022)
-  let t7032 := (t7028 + t7023)
-  let t7033 := (t7032 + ((1 : α) * t7014))
-  let t7050 := ((((t93 * t640) + (t97 * t645)) + (t100 * t650)) + t128)
-  let t7055 := ((((t93 * t6986) + (t97 * t6984)) + (t100 * t651)) + t128)
-  let t7061 := ((t7032 + t7022) * (0 : α))
-  (⟨(atan2 (-((((t7026 * t640) + (t7030 * t645)) + (t7033 * t650)) + t7061)) ((((t7026 * t6986) + (t7030 * t6984)) + (t7033 * t651)) + t7061)), (atan2 (-((((t93 * ((t634 * t6975) + t6978)) + (t97 * t6980)) + (t100 * t652)) + t128)) (sqrt ((t7050 * t7050) + (t7055 * t7055)))), t7004⟩, (256 : Int))
+  let t622 := (a.x * (-(1 : α)))
+  let t623 := (a.y * (-(1 : α)))
+  let t624 := (a.z * (-(1 : α)))
+  let t625 := (cos t622)
+  let t626 := (cos t623)
+  let t627 := (cos t624)
+  let t628 := (sin t622)
+  let t629 := (sin t623)
+  let t630 := (sin t624)
+  let t635 := (t626 * t627)
+  let t647 := (t626 * t625)
+  let t6929 := (t627 * t625)
+  let t6930 := (t627 * t628)
+  let t6931 := (t630 * t625)
+  let t6932 := (t630 * t628)
+  let t6934 := ((t629 * t6931) - t6930)
+  let t6940 := ((t629 * t6930) - t6931)
+  let t7004 := ((((t93 * t635) + (t97 * (t626 * t630))) + (t100 * (-t629))) + t128)
+  let t7009 := ((((t93 * t6940) + (t97 * ((t629 * t6932) + t6929))) + (t100 * (t626 * t628))) + t128)
+  (⟨(atan2 t6940 t635), (atan2 (-((((t93 * ((t629 * t6929) + t6932)) + (t97 * t6934)) + (t100 * t647)) + t128)) (sqrt ((t7004 * t7004) + (t7009 * t7009)))), (atan2 t6934 t647)⟩, (256 : Int))
 
 /-- extracted from the C++ template at T = Sym; 1 path(s) -/
 def Euler.toMatrix33_XZYr {α : Type} [Add α] [Sub α] [Mul α] [Neg α] (sin : α → α) (cos : α → α) (a : V3 α) : (M33 α) :=
@@ -5155,11 +4290,11 @@ def Euler.toMatrix33_XZYr {α : Type} [Add α] [Sub α] [Mul α] [Neg α] (sin :
   let t7 := (sin a.x)
   let t8 := (sin a.y)
   let t9 := (sin a.z)
-  let t7134 := (t6 * t4)
-  let t7135 := (t6 * t7)
-  let t7136 := (t9 * t4)
-  let t7137 := (t9 * t7)
-  ⟨((t8 * t7137) + t7134), (t5 * t9), ((t8 * t7136) - t7135), ((t8 * t7135) - t7136), (t5 * t6), ((t8 * t7134) + t7137), (t5 * t7), (-t8), (t5 * t4)⟩
+  let t7087 := (t6 * t4)
+  let t7088 := (t6 * t7)
+  let t7089 := (t9 * t4)
+  let t7090 := (t9 * t7)
+  ⟨((t8 * t7090) + t7087), (t5 * t9), ((t8 * t7089) - t7088), ((t8 * t7088) - t7089), (t5 * t6), ((t8 * t7087) + t7090), (t5 * t7), (-t8), (t5 * t4)⟩
 
 /-- extracted from the C++ template at T = Sym; 1 path(s) -/
 def Euler.toMatrix44_XZYr {α : Type} [Add α] [Sub α] [Mul α] [Neg α] [OfNat α 0] [OfNat α 1] (sin : α → α) (cos : α → α) (a : V3 α) : (M44 α) :=
@@ -5169,11 +4304,11 @@ def Euler.toMatrix44_XZYr {α : Type} [Add α] [Sub α] [Mul α] [Neg α] [OfNat
   let t7 := (sin a.x)
   let t8 := (sin a.y)
   let t9 := (sin a.z)
-  let t7134 := (t6 * t4)
-  let t7135 := (t6 * t7)
-  let t7136 := (t9 * t4)
-  let t7137 := (t9 * t7)
-  ⟨((t8 * t7137) + t7134), (t5 * t9), ((t8 * t7136) - t7135), (0 : α), ((t8 * t7135) - t7136), (t5 * t6), ((t8 * t7134) + t7137), (0 : α), (t5 * t7), (-t8), (t5 * t4), (0 : α), (0 : α), (0 : α), (0 : α), (1 : α)⟩
+  let t7087 := (t6 * t4)
+  let t7088 := (t6 * t7)
+  let t7089 := (t9 * t4)
+  let t7090 := (t9 * t7)
+  ⟨((t8 * t7090) + t7087), (t5 * t9), ((t8 * t7089) - t7088), (0 : α), ((t8 * t7088) - t7089), (t5 * t6), ((t8 * t7087) + t7090), (0 : α), (t5 * t7), (-t8), (t5 * t4), (0 : α), (0 : α), (0 : α), (0 : α), (1 : α)⟩
 
 /-- extracted from the C++ template at T = Sym; 1 path(s) -/
 def Euler.toQuat_XZYr {α : Type} [Add α] [Sub α] [Mul α] [Div α] [OfNat α 1] [OfNat α 2] (sin : α → α) (cos : α → α) (a : V3 α) : (Quat α) :=
@@ -5186,11 +4321,11 @@ def Euler.toQuat_XZYr {α : Type} [Add α] [Sub α] [Mul α] [Div α] [OfNat α 
   let t35 := (sin t29)
   let t36 := (sin t30)
   let t37 := (sin t31)
-  let t6987 := (t34 * t32)
-  let t6988 := (t34 * t35)
-  let t6989 := (t37 * t32)
-  let t6990 := (t37 * t35)
-  ⟨((t33 * t6987) + (t36 * t6990)), ⟨(((t33 * t6990) + (t36 * t6987)) * (1 : α)), ((t33 * t6988) - (t36 * t6989)), ((t33 * t6989) - (t36 * t6988))⟩⟩
+  let t6941 := (t34 * t32)
+  let t6942 := (t34 * t35)
+  let t6943 := (t37 * t32)
+  let t6944 := (t37 * t35)
+  ⟨((t33 * t6941) + (t36 * t6944)), ⟨(((t33 * t6944) + (t36 * t6941)) * (1 : α)), ((t33 * t6942) - (t36 * t6943)), ((t33 * t6943) - (t36 * t6942))⟩⟩
 
 /-- extracted from the C++ template at T = Sym; 1 path(s) -/
 def Euler.extractM33_XZYr {α : Type} [Add α] [Mul α] [Neg α] [OfNat α 0] [OfNat α 1] (sqrt : α → α) (sin : α → α) (cos : α → α) (atan2 : α → α → α) (m : M33 α) : (V3 α) :=
@@ -5198,33 +4333,23 @@ def Euler.extractM33_XZYr {α : Type} [Add α] [Mul α] [Neg α] [OfNat α 0] [O
   let t68 := (sin (0 : α))
   let t70 := (t66 * t66)
   let t72 := (-t68)
-  let t89 := ((0 : α) * t72)
   let t95 := ((0 : α) * t70)
-  let t2391 := (atan2 m.x01 m.x11)
-  let t2392 := (-t2391)
-  let t2393 := (cos t2392)
-  let t2394 := (sin t2392)
-  let t2395 := (t2393 * t66)
-  let t2396 := (t2394 * t66)
-  let t2407 := (((-t2394) * t72) + ((t2393 * t68) * t66))
-  let t2410 := ((t2393 * t72) + ((t2394 * t68) * t66))
-  let t2411 := ((0 : α) * t2396)
-  let t2414 := ((((1 : α) * t2395) + t2411) + t89)
-  let t2416 := ((0 : α) * t2395)
-  let t2418 := ((t2416 + ((1 : α) * t2396)) + t89)
-  let t2419 := (t2416 + t2411)
-  let t2420 := (t2419 + ((1 : α) * t72))
-  let t2435 := ((0 : α) * t2410)
-  let t2438 := ((((1 : α) * t2407) + t2435) + t95)
-  let t2440 := ((0 : α) * t2407)
-  let t2442 := ((t2440 + ((1 : α) * t2410)) + t95)
-  let t2443 := (t2440 + t2435)
-  let t2444 := (t2443 + ((1 : α) * t70))
-  let t2446 := ((t2419 + t89) * (0 : α))
-  let t2498 := ((t2443 + t95) * (0 : α))
-  let t2504 := ((((t2438 * m.x00) + (t2442 * m.x10)) + (t2444 * m.x20)) + t2498)
-  let t2516 := ((((t2438 * m.x02) + (t2442 * m.x12)) + (t2444 * m.x22)) + t2498)
-  ⟨(atan2 (-((((t2414 * m.x02) + (t2418 * m.x12)) + (t2420 * m.x22)) + t2446)) ((((t2414 * m.x00) + (t2418 * m.x10)) + (t2420 * m.x20)) + t2446)), (atan2 (-((((t2438 * m.x01) + (t2442 * m.x11)) + (t2444 * m.x21)) + t2498)) (sqrt ((t2516 * t2516) + (t2504 * t2504)))), t2391⟩
+  let t2366 := (atan2 m.x01 m.x11)
+  let t2367 := (-t2366)
+  let t2368 := (cos t2367)
+  let t2369 := (sin t2367)
+  let t2382 := (((-t2369) * t72) + ((t2368 * t68) * t66))
+  let t2385 := ((t2368 * t72) + ((t2369 * t68) * t66))
+  let t2410 := ((0 : α) * t2385)
+  let t2413 := ((((1 : α) * t2382) + t2410) + t95)
+  let t2415 := ((0 : α) * t2382)
+  let t2417 := ((t2415 + ((1 : α) * t2385)) + t95)
+  let t2418 := (t2415 + t2410)
+  let t2419 := (t2418 + ((1 : α) * t70))
+  let t2473 := ((t2418 + t95) * (0 : α))
+  let t2479 := ((((t2413 * m.x00) + (t2417 * m.x10)) + (t2419 * m.x20)) + t2473)
+  let t2491 := ((((t2413 * m.x02) + (t2417 * m.x12)) + (t2419 * m.x22)) + t2473)
+  ⟨(atan2 m.x20 m.x22), (atan2 (-((((t2413 * m.x01) + (t2417 * m.x11)) + (t2419 * m.x21)) + t2473)) (sqrt ((t2491 * t2491) + (t2479 * t2479)))), t2366⟩
 
 /-- extracted from the C++ template at T = Sym; 1 path(s) -/
 def Euler.extractM44_XZYr {α : Type} [Add α] [Mul α] [Neg α] [OfNat α 0] [OfNat α 1] (sqrt : α → α) (sin : α → α) (cos : α → α) (atan2 : α → α → α) (m : M44 α) : (V3 α) :=
@@ -5232,33 +4357,23 @@ def Euler.extractM44_XZYr {α : Type} [Add α] [Mul α] [Neg α] [OfNat α 0] [O
   let t68 := (sin (0 : α))
   let t70 := (t66 * t66)
   let t72 := (-t68)
-  let t89 := ((0 : α) * t72)
   let t95 := ((0 : α) * t70)
-  let t2391 := (atan2 m.x01 m.x11)
-  let t2392 := (-t2391)
-  let t2393 := (cos t2392)
-  let t2394 := (sin t2392)
-  let t2395 := (t2393 * t66)
-  let t2396 := (t2394 * t66)
-  let t2407 := (((-t2394) * t72) + ((t2393 * t68) * t66))
-  let t2410 := ((t2393 * t72) + ((t2394 * t68) * t66))
-  let t2411 := ((0 : α) * t2396)
-  let t2414 := ((((1 : α) * t2395) + t2411) + t89)
-  let t2416 := ((0 : α) * t2395)
-  let t2418 := ((t2416 + ((1 : α) * t2396)) + t89)
-  let t2419 := (t2416 + t2411)
-  let t2420 := (t2419 + ((1 : α) * t72))
-  let t2421 := (t2419 + t89)
-  let t2435 := ((0 : α) * t2410)
-  let t2438 := ((((1 : α) * t2407) + t2435) + t95)
-  let t2440 := ((0 : α) * t2407)
-  let t2442 := ((t2440 + ((1 : α) * t2410)) + t95)
-  let t2443 := (t2440 + t2435)
-  let t2444 := (t2443 + ((1 : α) * t70))
-  let t2445 := (t2443 + t95)
-  let t2559 := ((((t2438 * m.x00) + (t2442 * m.x10)) + (t2444 * m.x20)) + (t2445 * m.x30))
-  let t2563 := ((((t2438 * m.x02) + (t2442 * m.x12)) + (t2444 * m.x22)) + (t2445 * m.x32))
-  ⟨(atan2 (-((((t2414 * m.x02) + (t2418 * m.x12)) + (t2420 * m.x22)) + (t2421 * m.x32))) ((((t2414 * m.x00) + (t2418 * m.x10)) + (t2420 * m.x20)) + (t2421 * m.x30))), (atan2 (-((((t2438 * m.x01) + (t2442 * m.x11)) + (t2444 * m.x21)) + (t2445 * m.x31))) (sqrt ((t2563 * t2563) + (t2559 * t2559)))), t2391⟩
+  let t2366 := (atan2 m.x01 m.x11)
+  let t2367 := (-t2366)
+  let t2368 := (cos t2367)
+  let t2369 := (sin t2367)
+  let t2382 := (((-t2369) * t72) + ((t2368 * t68) * t66))
+  let t2385 := ((t2368 * t72) + ((t2369 * t68) * t66))
+  let t2410 := ((0 : α) * t2385)
+  let t2413 := ((((1 : α) * t2382) + t2410) + t95)
+  let t2415 := ((0 : α) * t2382)
+  let t2417 := ((t2415 + ((1 : α) * t2385)) + t95)
+  let t2418 := (t2415 + t2410)
+  let t2419 := (t2418 + ((1 : α) * t70))
+  let t2420 := (t2418 + t95)
+  let t2533 := ((((t2413 * m.x00) + (t2417 * m.x10)) + (t2419 * m.x20)) + (t2420 * m.x30))
+  let t2537 := ((((t2413 * m.x02) + (t2417 * m.x12)) + (t2419 * m.x22)) + (t2420 * m.x32))
+  ⟨(atan2 m.x20 m.x22), (atan2 (-((((t2413 * m.x01) + (t2417 * m.x11)) + (t2419 * m.x21)) + (t2420 * m.x31))) (sqrt ((t2537 * t2537) + (t2533 * t2533)))), t2366⟩
 
 /-- extracted from the C++ template at T = Sym; 1 path(s) -/
 def Euler.ctorM33_XZYr {α : Type} [Add α] [Mul α] [Neg α] [OfNat α 0] [OfNat α 1] (sqrt : α → α) (sin : α → α) (cos : α → α) (atan2 : α → α → α) (m : M33 α) : ((V3 α) × Int) :=
@@ -5266,33 +4381,23 @@ def Euler.ctorM33_XZYr {α : Type} [Add α] [Mul α] [Neg α] [OfNat α 0] [OfNa
   let t68 := (sin (0 : α))
   let t70 := (t66 * t66)
   let t72 := (-t68)
-  let t89 := ((0 : α) * t72)
   let t95 := ((0 : α) * t70)
-  let t2391 := (atan2 m.x01 m.x11)
-  let t2392 := (-t2391)
-  let t2393 := (cos t2392)
-  let t2394 := (sin t2392)
-  let t2395 := (t2393 * t66)
-  let t2396 := (t2394 * t66)
-  let t2407 := (((-t2394) * t72) + ((t2393 * t68) * t66))
-  let t2410 := ((t2393 * t72) + ((t2394 * t68) * t66))
-  let t2411 := ((0 : α) * t2396)
-  let t2414 := ((((1 : α) * t2395) + t2411) + t89)
-  let t2416 := ((0 : α) * t2395)
-  let t2418 := ((t2416 + ((1 : α) * t2396)) + t89)
-  let t2419 := (t2416 + t2411)
-  let t2420 := (t2419 + ((1 : α) * t72))
-  let t2435 := ((0 : α) * t2410)
-  let t2438 := ((((1 : α) * t2407) + t2435) + t95)
-  let t2440 := ((0 : α) * t2407)
-  let t2442 := ((t2440 + ((1 : α) * t2410)) + t95)
-  let t2443 := (t2440 + t2435)
-  let t2444 := (t2443 + ((1 : α) * t70))
-  let t2446 := ((t2419 + t89) * (0 : α))
-  let t2498 := ((t2443 + t95) * (0 : α))
-  let t2504 := ((((t2438 * m.x00) + (t2442 * m.x10)) + (t2444 * m.x20)) + t2498)
-  let t2516 := ((((t2438 * m.x02) + (t2442 * m.x12)) + (t2444 * m.x22)) + t2498)
-  (⟨(atan2 (-((((t2414 * m.x02) + (t2418 * m.x12)) + (t2420 * m.x22)) + t2446)) ((((t2414 * m.x00) + (t2418 * m.x10)) + (t2420 * m.x20)) + t2446)), (atan2 (-((((t2438 * m.x01) + (t2442 * m.x11)) + (t2444 * m.x21)) + t2498)) (sqrt ((t2516 * t2516) + (t2504 * t2504)))), t2391⟩, (8448 : Int))
+  let t2366 := (atan2 m.x01 m.x11)
+  let t2367 := (-t2366)
+  let t2368 := (cos t2367)
+  let t2369 := (sin t2367)
+  let t2382 := (((-t2369) * t72) + ((t2368 * t68) * t66))
+  let t2385 := ((t2368 * t72) + ((t2369 * t68) * t66))
+  let t2410 := ((0 : α) * t2385)
+  let t2413 := ((((1 : α) * t2382) + t2410) + t95)
+  let t2415 := ((0 : α) * t2382)
+  let t2417 := ((t2415 + ((1 : α) * t2385)) + t95)
+  let t2418 := (t2415 + t2410)
+  let t2419 := (t2418 + ((1 : α) * t70))
+  let t2473 := ((t2418 + t95) * (0 : α))
+  let t2479 := ((((t2413 * m.x00) + (t2417 * m.x10)) + (t2419 * m.x20)) + t2473)
+  let t2491 := ((((t2413 * m.x02) + (t2417 * m.x12)) + (t2419 * m.x22)) + t2473)
+  (⟨(atan2 m.x20 m.x22), (atan2 (-((((t2413 * m.x01) + (t2417 * m.x11)) + (t2419 * m.x21)) + t2473)) (sqrt ((t2491 * t2491) + (t2479 * t2479)))), t2366⟩, (8448 : Int))
 
 /-- extracted from the C++ template at T = Sym; 1 path(s) -/
 def Euler.ctorM44_XZYr {α : Type} [Add α] [Mul α] [Neg α] [OfNat α 0] [OfNat α 1] (sqrt : α → α) (sin : α → α) (cos : α → α) (atan2 : α → α → α) (m : M44 α) : ((V3 α) × Int) :=
@@ -5300,33 +4405,23 @@ def Euler.ctorM44_XZYr {α : Type} [Add α] [Mul α] [Neg α] [OfNat α 0] [OfNa
   let t68 := (sin (0 : α))
   let t70 := (t66 * t66)
   let t72 := (-t68)
-  let t89 := ((0 : α) * t72)
   let t95 := ((0 : α) * t70)
-  let t2391 := (atan2 m.x01 m.x11)
-  let t2392 := (-t2391)
-  let t2393 := (cos t2392)
-  let t2394 := (sin t2392)
-  let t2395 := (t2393 * t66)
-  let t2396 := (t2394 * t66)
-  let t2407 := (((-t2394) * t72) + ((t2393 * t68) * t66))
-  let t2410 := ((t2393 * t72) + ((t2394 * t68) * t66))
-  let t2411 := ((0 : α) * t2396)
-  let t2414 := ((((1 : α) * t2395) + t2411) + t89)
-  let t2416 := ((0 : α) * t2395)
-  let t2418 := ((t2416 + ((1 : α) * t2396)) + t89)
-  let t2419 := (t2416 + t2411)
-  let t2420 := (t2419 + ((1 : α) * t72))
-  let t2421 := (t2419 + t89)
-  let t2435 := ((0 : α) * t2410)
-  let t2438 := ((((1 : α) * t2407) + t2435) + t95)
-  let t2440 := ((0 : α) * t2407)
-  let t2442 := ((t2440 + ((1 : α) * t2410)) + t95)
-  let t2443 := (t2440 + t2435)
-  let t2444 := (t2443 + ((1 : α) * t70))
-  let t2445 := (t2443 + t95)
-  let t2559 := ((((t2438 * m.x00) + (t2442 * m.x10)) + (t2444 * m.x20)) + (t2445 * m.x30))
-  let t2563 := ((((t2438 * m.x02) + (t2442 * m.x12)) + (t2444 * m.x22)) + (t2445 * m.x32))
-  (⟨(atan2 (-((((t2414 * m.x02) + (t2418 * m.x12)) + (t2420 * m.x22)) + (t2421 * m.x32))) ((((t2414 * m.x00) + (t2418 * m.x10)) + (t2420 * m.x20)) + (t2421 * m.x30))), (atan2 (-((((t2438 * m.x01) + (t2442 * m.x11)) + (t2444 * m.x21)) + (t2445 * m.x31))) (sqrt ((t2563 * t2563) + (t2559 * t2559)))), t2391⟩, (8448 : Int))
+  let t2366 := (atan2 m.x01 m.x11)
+  let t2367 := (-t2366)
+  let t2368 := (cos t2367)
+  let t2369 := (sin t2367)
+  let t2382 := (((-t2369) * t72) + ((t2368 * t68) * t66))
+  let t2385 := ((t2368 * t72) + ((t2369 * t68) * t66))
+  let t2410 := ((0 : α) * t2385)
+  let t2413 := ((((1 : α) * t2382) + t2410) + t95)
+  let t2415 := ((0 : α) * t2382)
+  let t2417 := ((t2415 + ((1 : α) * t2385)) + t95)
+  let t2418 := (t2415 + t2410)
+  let t2419 := (t2418 + ((1 : α) * t70))
+  let t2420 := (t2418 + t95)
+  let t2533 := ((((t2413 * m.x00) + (t2417 * m.x10)) + (t2419 * m.x20)) + (t2420 * m.x30))
+  let t2537 := ((((t2413 * m.x02) + (t2417 * m.x12)) + (t2419 * m.x22)) + (t2420 * m.x32))
+  (⟨(atan2 m.x20 m.x22), (atan2 (-((((t2413 * m.x01) + (t2417 * m.x11)) + (t2419 * m.x21)) + (t2420 * m.x31))) (sqrt ((t2537 * t2537) + (t2533 * t2533)))), t2366⟩, (8448 : Int))
 
 /-- extracted from the C++ template at T = Sym; 1 path(s) -/
 def Euler.extractQuat_XZYr {α : Type} [Add α] [Sub α] [Mul α] [Neg α] [OfNat α 0] [OfNat α 1] [OfNat α 2] (sqrt : α → α) (sin : α → α) (cos : α → α) (atan2 : α → α → α) (q : Quat α) : (V3 α) :=
@@ -5334,50 +4429,36 @@ def Euler.extractQuat_XZYr {α : Type} [Add α] [Sub α] [Mul α] [Neg α] [OfNa
   let t68 := (sin (0 : α))
   let t70 := (t66 * t66)
   let t72 := (-t68)
-  let t89 := ((0 : α) * t72)
   let t95 := ((0 : α) * t70)
-  let t309 := (q.v.x * q.v.x)
-  let t310 := (q.v.y * q.v.y)
-  let t314 := ((1 : α) - ((2 : α) * (t310 + t309)))
-  let t315 := (q.v.x * q.r)
-  let t316 := (q.v.y * q.v.z)
-  let t319 := (q.v.y * q.r)
-  let t320 := (q.v.z * q.v.x)
-  let t322 := ((2 : α) * (t320 + t319))
-  let t324 := ((2 : α) * (t316 + t315))
-  let t325 := (q.v.z * q.v.z)
-  let t328 := ((1 : α) - ((2 : α) * (t325 + t309)))
-  let t329 := (q.v.z * q.r)
-  let t330 := (q.v.x * q.v.y)
-  let t332 := ((2 : α) * (t330 - t329))
-  let t334 := ((2 : α) * (t320 - t319))
-  let t336 := ((2 : α) * (t330 + t329))
-  let t339 := ((1 : α) - ((2 : α) * (t310 + t325)))
-  let t2579 := (atan2 t336 t328)
-  let t2580 := (-t2579)
-  let t2581 := (cos t2580)
-  let t2582 := (sin t2580)
-  let t2583 := (t2581 * t66)
-  let t2584 := (t2582 * t66)
-  let t2595 := (((-t2582) * t72) + ((t2581 * t68) * t66))
-  let t2598 := ((t2581 * t72) + ((t2582 * t68) * t66))
-  let t2599 := ((0 : α) * t2584)
-  let t2602 := ((((1 : α) * t2583) + t2599) + t89)
-  let t2604 := ((0 : α) * t2583)
-  let t2606 := ((t2604 + ((1 : α) * t2584)) + t89)
-  let t2607 := (t2604 + t2599)
-  let t2608 := (t2607 + ((1 : α) * t72))
-  let t2621 := ((0 : α) * t2598)
-  let t2624 := ((((1 : α) * t2595) + t2621) + t95)
-  let t2626 := ((0 : α) * t2595)
-  let t2628 := ((t2626 + ((1 : α) * t2598)) + t95)
-  let t2629 := (t2626 + t2621)
-  let t2630 := (t2629 + ((1 : α) * t70))
-  let t2632 := ((t2607 + t89) * (0 : α))
-  let t2684 := ((t2629 + t95) * (0 : α))
-  let t2690 := ((((t2624 * t339) + (t2628 * t332)) + (t2630 * t322)) + t2684)
-  let t2702 := ((((t2624 * t334) + (t2628 * t324)) + (t2630 * t314)) + t2684)
-  ⟨(atan2 (-((((t2602 * t334) + (t2606 * t324)) + (t2608 * t314)) + t2632)) ((((t2602 * t339) + (t2606 * t332)) + (t2608 * t322)) + t2632)), (atan2 (-((((t2624 * t336) + (t2628 * t328)) + (t2630 * ((2 : α) * (t316 - t315)))) + t2684)) (sqrt ((t2702 * t2702) + (t2690 * t2690)))), t2579⟩
+  let t306 := (q.v.x * q.v.x)
+  let t307 := (q.v.y * q.v.y)
+  let t311 := ((1 : α) - ((2 : α) * (t307 + t306)))
+  let t312 := (q.v.x * q.r)
+  let t313 := (q.v.y * q.v.z)
+  let t316 := (q.v.y * q.r)
+  let t317 := (q.v.z * q.v.x)
+  let t319 := ((2 : α) * (t317 + t316))
+  let t322 := (q.v.z * q.v.z)
+  let t325 := ((1 : α) - ((2 : α) * (t322 + t306)))
+  let t326 := (q.v.z * q.r)
+  let t327 := (q.v.x * q.v.y)
+  let t333 := ((2 : α) * (t327 + t326))
+  let t2551 := (atan2 t333 t325)
+  let t2552 := (-t2551)
+  let t2553 := (cos t2552)
+  let t2554 := (sin t2552)
+  let t2567 := (((-t2554) * t72) + ((t2553 * t68) * t66))
+  let t2570 := ((t2553 * t72) + ((t2554 * t68) * t66))
+  let t2593 := ((0 : α) * t2570)
+  let t2596 := ((((1 : α) * t2567) + t2593) + t95)
+  let t2598 := ((0 : α) * t2567)
+  let t2600 := ((t2598 + ((1 : α) * t2570)) + t95)
+  let t2601 := (t2598 + t2593)
+  let t2602 := (t2601 + ((1 : α) * t70))
+  let t2656 := ((t2601 + t95) * (0 : α))
+  let t2662 := ((((t2596 * ((1 : α) - ((2 : α) * (t307 + t322)))) + (t2600 * ((2 : α) * (t327 - t326)))) + (t2602 * t319)) + t2656)
+  let t2674 := ((((t2596 * ((2 : α) * (t317 - t316))) + (t2600 * ((2 : α) * (t313 + t312)))) + (t2602 * t311)) + t2656)
+  ⟨(atan2 t319 t311), (atan2 (-((((t2596 * t333) + (t2600 * t325)) + (t2602 * ((2 : α) * (t313 - t312)))) + t2656)) (sqrt ((t2674 * t2674) + (t2662 * t2662)))), t2551⟩
 
 /-- extracted from the C++ template at T = Sym; 1 path(s) -/
 def Euler.ctorXYZLayout_XZYr {α : Type} (v : V3 α) : ((V3 α) × Int) :=
@@ -5431,45 +4512,31 @@ def Euler.reorderFromXYZ_XZYr {α : Type} [Add α] [Sub α] [Mul α] [Neg α] [O
   let t11 := (t4 * t9)
   let t12 := (t7 * t6)
   let t13 := (t7 * t9)
-  let t15 := (t5 * t6)
-  let t17 := ((t8 * t12) - t11)
   let t19 := ((t8 * t10) + t13)
   let t20 := (t5 * t9)
   let t22 := ((t8 * t13) + t10)
-  let t25 := (-t8)
-  let t26 := (t5 * t7)
   let t27 := (t5 * t4)
   let t66 := (cos (0 : α))
   let t68 := (sin (0 : α))
   let t70 := (t66 * t66)
   let t72 := (-t68)
-  let t89 := ((0 : α) * t72)
   let t95 := ((0 : α) * t70)
-  let t1642 := (atan2 t20 t22)
-  let t1643 := (-t1642)
-  let t1644 := (cos t1643)
-  let t1645 := (sin t1643)
-  let t2718 := (t1644 * t66)
-  let t2719 := (t1645 * t66)
-  let t2729 := (((-t1645) * t72) + ((t1644 * t68) * t66))
-  let t2732 := ((t1644 * t72) + ((t1645 * t68) * t66))
-  let t2733 := ((0 : α) * t2719)
-  let t2736 := ((((1 : α) * t2718) + t2733) + t89)
-  let t2738 := ((0 : α) * t2718)
-  let t2740 := ((t2738 + ((1 : α) * t2719)) + t89)
-  let t2741 := (t2738 + t2733)
-  let t2742 := (t2741 + ((1 : α) * t72))
-  let t2755 := ((0 : α) * t2732)
-  let t2758 := ((((1 : α) * t2729) + t2755) + t95)
-  let t2760 := ((0 : α) * t2729)
-  let t2762 := ((t2760 + ((1 : α) * t2732)) + t95)
-  let t2763 := (t2760 + t2755)
-  let t2764 := (t2763 + ((1 : α) * t70))
-  let t2766 := ((t2741 + t89) * (0 : α))
-  let t2818 := ((t2763 + t95) * (0 : α))
-  let t2824 := ((((t2758 * t15) + (t2762 * t17)) + (t2764 * t19)) + t2818)
-  let t2836 := ((((t2758 * t25) + (t2762 * t26)) + (t2764 * t27)) + t2818)
-  (⟨(atan2 (-((((t2736 * t25) + (t2740 * t26)) + (t2742 * t27)) + t2766)) ((((t2736 * t15) + (t2740 * t17)) + (t2742 * t19)) + t2766)), (atan2 (-((((t2758 * t20) + (t2762 * t22)) + (t2764 * ((t8 * t11) - t12))) + t2818)) (sqrt ((t2836 * t2836) + (t2824 * t2824)))), t1642⟩, (8448 : Int))
+  let t1625 := (atan2 t20 t22)
+  let t1626 := (-t1625)
+  let t1627 := (cos t1626)
+  let t1628 := (sin t1626)
+  let t2700 := (((-t1628) * t72) + ((t1627 * t68) * t66))
+  let t2703 := ((t1627 * t72) + ((t1628 * t68) * t66))
+  let t2726 := ((0 : α) * t2703)
+  let t2729 := ((((1 : α) * t2700) + t2726) + t95)
+  let t2731 := ((0 : α) * t2700)
+  let t2733 := ((t2731 + ((1 : α) * t2703)) + t95)
+  let t2734 := (t2731 + t2726)
+  let t2735 := (t2734 + ((1 : α) * t70))
+  let t2789 := ((t2734 + t95) * (0 : α))
+  let t2795 := ((((t2729 * (t5 * t6)) + (t2733 * ((t8 * t12) - t11))) + (t2735 * t19)) + t2789)
+  let t2807 := ((((t2729 * (-t8)) + (t2733 * (t5 * t7))) + (t2735 * t27)) + t2789)
+  (⟨(atan2 t19 t27), (atan2 (-((((t2729 * t20) + (t2733 * t22)) + (t2735 * ((t8 * t11) - t12))) + t2789)) (sqrt ((t2807 * t2807) + (t2795 * t2795)))), t1625⟩, (8448 : Int))
 
 /-- extracted from the C++ template at T = Sym; 1 path(s) -/
 def Euler.reorderToZYXr_XZYr {α : Type} [Add α] [Sub α] [Mul α] [Neg α] [OfNat α 0] [OfNat α 1] (sqrt : α → α) (sin : α → α) (cos : α → α) (atan2 : α → α → α) (a : V3 α) : ((V3 α) × Int) :=
@@ -5479,10 +4546,7 @@ def Euler.reorderToZYXr_XZYr {α : Type} [Add α] [Sub α] [Mul α] [Neg α] [Of
   let t7 := (sin a.x)
   let t8 := (sin a.y)
   let t9 := (sin a.z)
-  let t15 := (t5 * t6)
   let t20 := (t5 * t9)
-  let t25 := (-t8)
-  let t26 := (t5 * t7)
   let t27 := (t5 * t4)
   let t66 := (cos (0 : α))
   let t68 := (sin (0 : α))
@@ -5497,65 +4561,49 @@ def Euler.reorderToZYXr_XZYr {α : Type} [Add α] [Sub α] [Mul α] [Neg α] [Of
   let t99 := (t95 + t90)
   let t100 := (t99 + ((1 : α) * t72))
   let t128 := ((t99 + t89) * (0 : α))
-  let t7134 := (t6 * t4)
-  let t7135 := (t6 * t7)
-  let t7136 := (t9 * t4)
-  let t7137 := (t9 * t7)
-  let t7141 := ((t8 * t7134) + t7137)
-  let t7143 := ((t8 * t7137) + t7134)
-  let t7145 := ((t8 * t7135) - t7136)
-  let t7159 := (atan2 t7141 t27)
-  let t7160 := (-t7159)
-  let t7161 := (cos t7160)
-  let t7162 := (sin t7160)
-  let t7165 := ((t72 * t7161) + ((t66 * t68) * t7162))
-  let t7168 := ((t66 * t7161) + ((t68 * t68) * t7162))
-  let t7169 := (t66 * t7162)
-  let t7177 := ((0 : α) * t7169)
-  let t7178 := ((0 : α) * t7168)
-  let t7181 := ((((1 : α) * t7165) + t7178) + t7177)
-  let t7183 := ((0 : α) * t7165)
-  let t7185 := ((t7183 + ((1 : α) * t7168)) + t7177)
-  let t7187 := (t7183 + t7178)
-  let t7188 := (t7187 + ((1 : α) * t7169))
-  let t7207 := ((((t93 * t7143) + (t97 * t7145)) + (t100 * t26)) + t128)
-  let t7210 := ((((t93 * t20) + (t97 * t15)) + (t100 * t25)) + t128)
-  let t7216 := ((t7187 + t7177) * (0 : α))
-  (⟨(atan2 (-((((t7181 * t7143) + (t7185 * t7145)) + (t7188 * t26)) + t7216)) ((((t7181 * t20) + (t7185 * t15)) + (t7188 * t25)) + t7216)), (atan2 (-((((t93 * ((t8 * t7136) - t7135)) + (t97 * t7141)) + (t100 * t27)) + t128)) (sqrt ((t7207 * t7207) + (t7210 * t7210)))), t7159⟩, (256 : Int))
+  let t7087 := (t6 * t4)
+  let t7088 := (t6 * t7)
+  let t7089 := (t9 * t4)
+  let t7090 := (t9 * t7)
+  let t7094 := ((t8 * t7087) + t7090)
+  let t7096 := ((t8 * t7090) + t7087)
+  let t7160 := ((((t93 * t7096) + (t97 * ((t8 * t7088) - t7089))) + (t100 * (t5 * t7))) + t128)
+  let t7163 := ((((t93 * t20) + (t97 * (t5 * t6))) + (t100 * (-t8))) + t128)
+  (⟨(atan2 t20 t7096), (atan2 (-((((t93 * ((t8 * t7089) - t7088)) + (t97 * t7094)) + (t100 * t27)) + t128)) (sqrt ((t7160 * t7160) + (t7163 * t7163)))), (atan2 t7094 t27)⟩, (256 : Int))
 
 /-- extracted from the C++ template at T = Sym; 1 path(s) -/
 def Euler.toMatrix33_YZXr {α : Type} [Add α] [Sub α] [Mul α] [Neg α] [OfNat α 1] (sin : α → α) (cos : α → α) (a : V3 α) : (M33 α) :=
-  let t627 := (a.x * (-(1 : α)))
-  let t628 := (a.y * (-(1 : α)))
-  let t629 := (a.z * (-(1 : α)))
-  let t630 := (cos t627)
-  let t631 := (cos t628)
-  let t632 := (cos t629)
-  let t633 := (sin t627)
-  let t634 := (sin t628)
-  let t635 := (sin t629)
-  let t6975 := (t632 * t630)
-  let t6976 := (t632 * t633)
-  let t6977 := (t635 * t630)
-  let t6978 := (t635 * t633)
-  ⟨((t634 * t6978) + t6975), ((t634 * t6977) - t6976), (t631 * t635), (t631 * t633), (t631 * t630), (-t634), ((t634 * t6976) - t6977), ((t634 * t6975) + t6978), (t631 * t632)⟩
+  let t622 := (a.x * (-(1 : α)))
+  let t623 := (a.y * (-(1 : α)))
+  let t624 := (a.z * (-(1 : α)))
+  let t625 := (cos t622)
+  let t626 := (cos t623)
+  let t627 := (cos t624)
+  let t628 := (sin t622)
+  let t629 := (sin t623)
+  let t630 := (sin t624)
+  let t6929 := (t627 * t625)
+  let t6930 := (t627 * t628)
+  let t6931 := (t630 * t625)
+  let t6932 := (t630 * t628)
+  ⟨((t629 * t6932) + t6929), ((t629 * t6931) - t6930), (t626 * t630), (t626 * t628), (t626 * t625), (-t629), ((t629 * t6930) - t6931), ((t629 * t6929) + t6932), (t626 * t627)⟩
 
 /-- extracted from the C++ template at T = Sym; 1 path(s) -/
 def Euler.toMatrix44_YZXr {α : Type} [Add α] [Sub α] [Mul α] [Neg α] [OfNat α 0] [OfNat α 1] (sin : α → α) (cos : α → α) (a : V3 α) : (M44 α) :=
-  let t627 := (a.x * (-(1 : α)))
-  let t628 := (a.y * (-(1 : α)))
-  let t629 := (a.z * (-(1 : α)))
-  let t630 := (cos t627)
-  let t631 := (cos t628)
-  let t632 := (cos t629)
-  let t633 := (sin t627)
-  let t634 := (sin t628)
-  let t635 := (sin t629)
-  let t6975 := (t632 * t630)
-  let t6976 := (t632 * t633)
-  let t6977 := (t635 * t630)
-  let t6978 := (t635 * t633)
-  ⟨((t634 * t6978) + t6975), ((t634 * t6977) - t6976), (t631 * t635), (0 : α), (t631 * t633), (t631 * t630), (-t634), (0 : α), ((t634 * t6976) - t6977), ((t634 * t6975) + t6978), (t631 * t632), (0 : α), (0 : α), (0 : α), (0 : α), (1 : α)⟩
+  let t622 := (a.x * (-(1 : α)))
+  let t623 := (a.y * (-(1 : α)))
+  let t624 := (a.z * (-(1 : α)))
+  let t625 := (cos t622)
+  let t626 := (cos t623)
+  let t627 := (cos t624)
+  let t628 := (sin t622)
+  let t629 := (sin t623)
+  let t630 := (sin t624)
+  let t6929 := (t627 * t625)
+  let t6930 := (t627 * t628)
+  let t6931 := (t630 * t625)
+  let t6932 := (t630 * t628)
+  ⟨((t629 * t6932) + t6929), ((t629 * t6931) - t6930), (t626 * t630), (0 : α), (t626 * t628), (t626 * t625), (-t629), (0 : α), ((t629 * t6930) - t6931), ((t629 * t6929) + t6932), (t626 * t627), (0 : α), (0 : α), (0 : α), (0 : α), (1 : α)⟩
 
 /-- extracted from the C++ template at T = Sym; 1 path(s) -/
 def Euler.toQuat_YZXr {α : Type} [Add α] [Sub α] [Mul α] [Div α] [Neg α] [OfNat α 1] [OfNat α 2] (sin : α → α) (cos : α → α) (a : V3 α) : (Quat α) :=
@@ -5565,196 +4613,132 @@ def Euler.toQuat_YZXr {α : Type} [Add α] [Sub α] [Mul α] [Div α] [Neg α] [
   let t34 := (cos t31)
   let t35 := (sin t29)
   let t37 := (sin t31)
-  let t654 := ((-a.y) * ((1 : α) / (2 : α)))
-  let t655 := (cos t654)
-  let t656 := (sin t654)
-  let t6987 := (t34 * t32)
-  let t6988 := (t34 * t35)
-  let t6989 := (t37 * t32)
-  let t6990 := (t37 * t35)
-  ⟨((t655 * t6987) + (t656 * t6990)), ⟨(((t655 * t6990) + (t656 * t6987)) * (-(1 : α))), ((t655 * t6989) - (t656 * t6988)), ((t655 * t6988) - (t656 * t6989))⟩⟩
+  let t649 := ((-a.y) * ((1 : α) / (2 : α)))
+  let t650 := (cos t649)
+  let t651 := (sin t649)
+  let t6941 := (t34 * t32)
+  let t6942 := (t34 * t35)
+  let t6943 := (t37 * t32)
+  let t6944 := (t37 * t35)
+  ⟨((t650 * t6941) + (t651 * t6944)), ⟨(((t650 * t6944) + (t651 * t6941)) * (-(1 : α))), ((t650 * t6943) - (t651 * t6942)), ((t650 * t6942) - (t651 * t6943))⟩⟩
 
 /-- extracted from the C++ template at T = Sym; 1 path(s) -/
 def Euler.extractM33_YZXr {α : Type} [Add α] [Mul α] [Neg α] [OfNat α 0] [OfNat α 1] (sqrt : α → α) (sin : α → α) (cos : α → α) (atan2 : α → α → α) (m : M33 α) : (V3 α) :=
   let t66 := (cos (0 : α))
   let t68 := (sin (0 : α))
-  let t1773 := (atan2 m.x02 m.x22)
-  let t1774 := (cos t1773)
-  let t1775 := (sin t1773)
-  let t1776 := (t66 * t1774)
-  let t1777 := (t68 * t1774)
-  let t1778 := (-t1775)
-  let t1781 := (((-t68) * t66) + ((t66 * t1775) * t68))
-  let t1784 := ((t66 * t66) + ((t68 * t1775) * t68))
-  let t1785 := (t1774 * t68)
-  let t1791 := ((0 : α) * t1778)
-  let t1792 := ((0 : α) * t1777)
-  let t1795 := ((((1 : α) * t1776) + t1792) + t1791)
-  let t1797 := ((0 : α) * t1776)
-  let t1799 := ((t1797 + ((1 : α) * t1777)) + t1791)
-  let t1801 := (t1797 + t1792)
-  let t1802 := (t1801 + ((1 : α) * t1778))
-  let t1804 := ((0 : α) * t1785)
-  let t1805 := ((0 : α) * t1784)
-  let t1808 := ((((1 : α) * t1781) + t1805) + t1804)
-  let t1810 := ((0 : α) * t1781)
-  let t1812 := ((t1810 + ((1 : α) * t1784)) + t1804)
-  let t1814 := (t1810 + t1805)
-  let t1815 := (t1814 + ((1 : α) * t1785))
-  let t1830 := ((t1801 + t1791) * (0 : α))
-  let t1856 := ((t1814 + t1804) * (0 : α))
-  let t1862 := ((((t1808 * m.x00) + (t1812 * m.x10)) + (t1815 * m.x20)) + t1856)
-  let t1868 := ((((t1808 * m.x01) + (t1812 * m.x11)) + (t1815 * m.x21)) + t1856)
-  ⟨((atan2 (-((((t1795 * m.x01) + (t1799 * m.x11)) + (t1802 * m.x21)) + t1830)) ((((t1795 * m.x00) + (t1799 * m.x10)) + (t1802 * m.x20)) + t1830)) * (-(1 : α))), ((atan2 (-((((t1808 * m.x02) + (t1812 * m.x12)) + (t1815 * m.x22)) + t1856)) (sqrt ((t1868 * t1868) + (t1862 * t1862)))) * (-(1 : α))), (t1773 * (-(1 : α)))⟩
+  let t1755 := (atan2 m.x02 m.x22)
+  let t1757 := (sin t1755)
+  let t1763 := (((-t68) * t66) + ((t66 * t1757) * t68))
+  let t1766 := ((t66 * t66) + ((t68 * t1757) * t68))
+  let t1767 := ((cos t1755) * t68)
+  let t1786 := ((0 : α) * t1767)
+  let t1787 := ((0 : α) * t1766)
+  let t1790 := ((((1 : α) * t1763) + t1787) + t1786)
+  let t1792 := ((0 : α) * t1763)
+  let t1794 := ((t1792 + ((1 : α) * t1766)) + t1786)
+  let t1796 := (t1792 + t1787)
+  let t1797 := (t1796 + ((1 : α) * t1767))
+  let t1838 := ((t1796 + t1786) * (0 : α))
+  let t1844 := ((((t1790 * m.x00) + (t1794 * m.x10)) + (t1797 * m.x20)) + t1838)
+  let t1850 := ((((t1790 * m.x01) + (t1794 * m.x11)) + (t1797 * m.x21)) + t1838)
+  ⟨((atan2 m.x10 m.x11) * (-(1 : α))), ((atan2 (-((((t1790 * m.x02) + (t1794 * m.x12)) + (t1797 * m.x22)) + t1838)) (sqrt ((t1850 * t1850) + (t1844 * t1844)))) * (-(1 : α))), (t1755 * (-(1 : α)))⟩
 
 /-- extracted from the C++ template at T = Sym; 1 path(s) -/
 def Euler.extractM44_YZXr {α : Type} [Add α] [Mul α] [Neg α] [OfNat α 0] [OfNat α 1] (sqrt : α → α) (sin : α → α) (cos : α → α) (atan2 : α → α → α) (m : M44 α) : (V3 α) :=
   let t66 := (cos (0 : α))
   let t68 := (sin (0 : α))
-  let t1773 := (atan2 m.x02 m.x22)
-  let t1774 := (cos t1773)
-  let t1775 := (sin t1773)
-  let t1776 := (t66 * t1774)
-  let t1777 := (t68 * t1774)
-  let t1778 := (-t1775)
-  let t1781 := (((-t68) * t66) + ((t66 * t1775) * t68))
-  let t1784 := ((t66 * t66) + ((t68 * t1775) * t68))
-  let t1785 := (t1774 * t68)
-  let t1791 := ((0 : α) * t1778)
-  let t1792 := ((0 : α) * t1777)
-  let t1795 := ((((1 : α) * t1776) + t1792) + t1791)
-  let t1797 := ((0 : α) * t1776)
-  let t1799 := ((t1797 + ((1 : α) * t1777)) + t1791)
-  let t1801 := (t1797 + t1792)
-  let t1802 := (t1801 + ((1 : α) * t1778))
-  let t1803 := (t1801 + t1791)
-  let t1804 := ((0 : α) * t1785)
-  let t1805 := ((0 : α) * t1784)
-  let t1808 := ((((1 : α) * t1781) + t1805) + t1804)
-  let t1810 := ((0 : α) * t1781)
-  let t1812 := ((t1810 + ((1 : α) * t1784)) + t1804)
-  let t1814 := (t1810 + t1805)
-  let t1815 := (t1814 + ((1 : α) * t1785))
-  let t1816 := (t1814 + t1804)
-  let t1933 := ((((t1808 * m.x00) + (t1812 * m.x10)) + (t1815 * m.x20)) + (t1816 * m.x30))
-  let t1935 := ((((t1808 * m.x01) + (t1812 * m.x11)) + (t1815 * m.x21)) + (t1816 * m.x31))
-  ⟨((atan2 (-((((t1795 * m.x01) + (t1799 * m.x11)) + (t1802 * m.x21)) + (t1803 * m.x31))) ((((t1795 * m.x00) + (t1799 * m.x10)) + (t1802 * m.x20)) + (t1803 * m.x30))) * (-(1 : α))), ((atan2 (-((((t1808 * m.x02) + (t1812 * m.x12)) + (t1815 * m.x22)) + (t1816 * m.x32))) (sqrt ((t1935 * t1935) + (t1933 * t1933)))) * (-(1 : α))), (t1773 * (-(1 : α)))⟩
+  let t1755 := (atan2 m.x02 m.x22)
+  let t1757 := (sin t1755)
+  let t1763 := (((-t68) * t66) + ((t66 * t1757) * t68))
+  let t1766 := ((t66 * t66) + ((t68 * t1757) * t68))
+  let t1767 := ((cos t1755) * t68)
+  let t1786 := ((0 : α) * t1767)
+  let t1787 := ((0 : α) * t1766)
+  let t1790 := ((((1 : α) * t1763) + t1787) + t1786)
+  let t1792 := ((0 : α) * t1763)
+  let t1794 := ((t1792 + ((1 : α) * t1766)) + t1786)
+  let t1796 := (t1792 + t1787)
+  let t1797 := (t1796 + ((1 : α) * t1767))
+  let t1798 := (t1796 + t1786)
+  let t1914 := ((((t1790 * m.x00) + (t1794 * m.x10)) + (t1797 * m.x20)) + (t1798 * m.x30))
+  let t1916 := ((((t1790 * m.x01) + (t1794 * m.x11)) + (t1797 * m.x21)) + (t1798 * m.x31))
+  ⟨((atan2 m.x10 m.x11) * (-(1 : α))), ((atan2 (-((((t1790 * m.x02) + (t1794 * m.x12)) + (t1797 * m.x22)) + (t1798 * m.x32))) (sqrt ((t1916 * t1916) + (t1914 * t1914)))) * (-(1 : α))), (t1755 * (-(1 : α)))⟩
 
 /-- extracted from the C++ template at T = Sym; 1 path(s) -/
 def Euler.ctorM33_YZXr {α : Type} [Add α] [Mul α] [Neg α] [OfNat α 0] [OfNat α 1] (sqrt : α → α) (sin : α → α) (cos : α → α) (atan2 : α → α → α) (m : M33 α) : ((V3 α) × Int) :=
   let t66 := (cos (0 : α))
   let t68 := (sin (0 : α))
-  let t1773 := (atan2 m.x02 m.x22)
-  let t1774 := (cos t1773)
-  let t1775 := (sin t1773)
-  let t1776 := (t66 * t1774)
-  let t1777 := (t68 * t1774)
-  let t1778 := (-t1775)
-  let t1781 := (((-t68) * t66) + ((t66 * t1775) * t68))
-  let t1784 := ((t66 * t66) + ((t68 * t1775) * t68))
-  let t1785 := (t1774 * t68)
-  let t1791 := ((0 : α) * t1778)
-  let t1792 := ((0 : α) * t1777)
-  let t1795 := ((((1 : α) * t1776) + t1792) + t1791)
-  let t1797 := ((0 : α) * t1776)
-  let t1799 := ((t1797 + ((1 : α) * t1777)) + t1791)
-  let t1801 := (t1797 + t1792)
-  let t1802 := (t1801 + ((1 : α) * t1778))
-  let t1804 := ((0 : α) * t1785)
-  let t1805 := ((0 : α) * t1784)
-  let t1808 := ((((1 : α) * t1781) + t1805) + t1804)
-  let t1810 := ((0 : α) * t1781)
-  let t1812 := ((t1810 + ((1 : α) * t1784)) + t1804)
-  let t1814 := (t1810 + t1805)
-  let t1815 := (t1814 + ((1 : α) * t1785))
-  let t1830 := ((t1801 + t1791) * (0 : α))
-  let t1856 := ((t1814 + t1804) * (0 : α))
-  let t1862 := ((((t1808 * m.x00) + (t1812 * m.x10)) + (t1815 * m.x20)) + t1856)
-  let t1868 := ((((t1808 * m.x01) + (t1812 * m.x11)) + (t1815 * m.x21)) + t1856)
-  (⟨((atan2 (-((((t1795 * m.x01) + (t1799 * m.x11)) + (t1802 * m.x21)) + t1830)) ((((t1795 * m.x00) + (t1799 * m.x10)) + (t1802 * m.x20)) + t1830)) * (-(1 : α))), ((atan2 (-((((t1808 * m.x02) + (t1812 * m.x12)) + (t1815 * m.x22)) + t1856)) (sqrt ((t1868 * t1868) + (t1862 * t1862)))) * (-(1 : α))), (t1773 * (-(1 : α)))⟩, (4096 : Int))
+  let t1755 := (atan2 m.x02 m.x22)
+  let t1757 := (sin t1755)
+  let t1763 := (((-t68) * t66) + ((t66 * t1757) * t68))
+  let t1766 := ((t66 * t66) + ((t68 * t1757) * t68))
+  let t1767 := ((cos t1755) * t68)
+  let t1786 := ((0 : α) * t1767)
+  let t1787 := ((0 : α) * t1766)
+  let t1790 := ((((1 : α) * t1763) + t1787) + t1786)
+  let t1792 := ((0 : α) * t1763)
+  let t1794 := ((t1792 + ((1 : α) * t1766)) + t1786)
+  let t1796 := (t1792 + t1787)
+  let t1797 := (t1796 + ((1 : α) * t1767))
+  let t1838 := ((t1796 + t1786) * (0 : α))
+  let t1844 := ((((t1790 * m.x00) + (t1794 * m.x10)) + (t1797 * m.x20)) + t1838)
+  let t1850 := ((((t1790 * m.x01) + (t1794 * m.x11)) + (t1797 * m.x21)) + t1838)
+  (⟨((atan2 m.x10 m.x11) * (-(1 : α))), ((atan2 (-((((t1790 * m.x02) + (t1794 * m.x12)) + (t1797 * m.x22)) + t1838)) (sqrt ((t1850 * t1850) + (t1844 * t1844)))) * (-(1 : α))), (t1755 * (-(1 : α)))⟩, (4096 : Int))
 
 /-- extracted from the C++ template at T = Sym; 1 path(s) -/
 def Euler.ctorM44_YZXr {α : Type} [Add α] [Mul α] [Neg α] [OfNat α 0] [OfNat α 1] (sqrt : α → α) (sin : α → α) (cos : α → α) (atan2 : α → α → α) (m : M44 α) : ((V3 α) × Int) :=
   let t66 := (cos (0 : α))
   let t68 := (sin (0 : α))
-  let t1773 := (atan2 m.x02 m.x22)
-  let t1774 := (cos t1773)
-  let t1775 := (sin t1773)
-  let t1776 := (t66 * t1774)
-  let t1777 := (t68 * t1774)
-  let t1778 := (-t1775)
-  let t1781 := (((-t68) * t66) + ((t66 * t1775) * t68))
-  let t1784 := ((t66 * t66) + ((t68 * t1775) * t68))
-  let t1785 := (t1774 * t68)
-  let t1791 := ((0 : α) * t1778)
-  let t1792 := ((0 : α) * t1777)
-  let t1795 := ((((1 : α) * t1776) + t1792) + t1791)
-  let t1797 := ((0 : α) * t1776)
-  let t1799 := ((t1797 + ((1 : α) * t1777)) + t1791)
-  let t1801 := (t1797 + t1792)
-  let t1802 := (t1801 + ((1 : α) * t1778))
-  let t1803 := (t1801 + t1791)
-  let t1804 := ((0 : α) * t1785)
-  let t1805 := ((0 : α) * t1784)
-  let t1808 := ((((1 : α) * t1781) + t1805) + t1804)
-  let t1810 := ((0 : α) * t1781)
-  let t1812 := ((t1810 + ((1 : α) * t1784)) + t1804)
-  let t1814 := (t1810 + t1805)
-  let t1815 := (t1814 + ((1 : α) * t1785))
-  let t1816 := (t1814 + t1804)
-  let t1933 := ((((t1808 * m.x00) + (t1812 * m.x10)) + (t1815 * m.x20)) + (t1816 * m.x30))
-  let t1935 := ((((t1808 * m.x01) + (t1812 * m.x11)) + (t1815 * m.x21)) + (t1816 * m.x31))
-  (⟨((atan2 (-((((t1795 * m.x01) + (t1799 * m.x11)) + (t1802 * m.x21)) + (t1803 * m.x31))) ((((t1795 * m.x00) + (t1799 * m.x10)) + (t1802 * m.x20)) + (t1803 * m.x30))) * (-(1 : α))), ((atan2 (-((((t1808 * m.x02) + (t1812 * m.x12)) + (t1815 * m.x22)) + (t1816 * m.x32))) (sqrt ((t1935 * t1935) + (t1933 * t1933)))) * (-(1 : α))), (t1773 * (-(1 : α)))⟩, (4096 : Int))
+  let t1755 := (atan2 m.x02 m.x22)
+  let t1757 := (sin t1755)
+  let t1763 := (((-t68) * t66) + ((t66 * t1757) * t68))
+  let t1766 := ((t66 * t66) + ((t68 * t1757) * t68))
+  let t1767 := ((cos t1755) * t68)
+  let t1786 := ((0 : α) * t1767)
+  let t1787 := ((0 : α) * t1766)
+  let t1790 := ((((1 : α) * t1763) + t1787) + t1786)
+  let t1792 := ((0 : α) * t1763)
+  let t1794 := ((t1792 + ((1 : α) * t1766)) + t1786)
+  let t1796 := (t1792 + t1787)
+  let t1797 := (t1796 + ((1 : α) * t1767))
+  let t1798 := (t1796 + t1786)
+  let t1914 := ((((t1790 * m.x00) + (t1794 * m.x10)) + (t1797 * m.x20)) + (t1798 * m.x30))
+  let t1916 := ((((t1790 * m.x01) + (t1794 * m.x11)) + (t1797 * m.x21)) + (t1798 * m.x31))
+  (⟨((atan2 m.x10 m.x11) * (-(1 : α))), ((atan2 (-((((t1790 * m.x02) + (t1794 * m.x12)) + (t1797 * m.x22)) + (t1798 * m.x32))) (sqrt ((t1916 * t1916) + (t1914 * t1914)))) * (-(1 : α))), (t1755 * (-(1 : α)))⟩, (4096 : Int))
 
 /-- extracted from the C++ template at T = Sym; 1 path(s) -/
 def Euler.extractQuat_YZXr {α : Type} [Add α] [Sub α] [Mul α] [Neg α] [OfNat α 0] [OfNat α 1] [OfNat α 2] (sqrt : α → α) (sin : α → α) (cos : α → α) (atan2 : α → α → α) (q : Quat α) : (V3 α) :=
   let t66 := (cos (0 : α))
   let t68 := (sin (0 : α))
-  let t309 := (q.v.x * q.v.x)
-  let t310 := (q.v.y * q.v.y)
-  let t314 := ((1 : α) - ((2 : α) * (t310 + t309)))
-  let t315 := (q.v.x * q.r)
-  let t316 := (q.v.y * q.v.z)
-  let t318 := ((2 : α) * (t316 - t315))
-  let t319 := (q.v.y * q.r)
-  let t320 := (q.v.z * q.v.x)
-  let t322 := ((2 : α) * (t320 + t319))
-  let t325 := (q.v.z * q.v.z)
-  let t328 := ((1 : α) - ((2 : α) * (t325 + t309)))
-  let t329 := (q.v.z * q.r)
-  let t330 := (q.v.x * q.v.y)
-  let t332 := ((2 : α) * (t330 - t329))
-  let t334 := ((2 : α) * (t320 - t319))
-  let t336 := ((2 : α) * (t330 + t329))
-  let t339 := ((1 : α) - ((2 : α) * (t310 + t325)))
-  let t1968 := (atan2 t334 t314)
-  let t1969 := (cos t1968)
-  let t1970 := (sin t1968)
-  let t1971 := (t66 * t1969)
-  let t1972 := (t68 * t1969)
-  let t1973 := (-t1970)
-  let t1976 := (((-t68) * t66) + ((t66 * t1970) * t68))
-  let t1979 := ((t66 * t66) + ((t68 * t1970) * t68))
-  let t1980 := (t1969 * t68)
-  let t1986 := ((0 : α) * t1973)
-  let t1987 := ((0 : α) * t1972)
-  let t1990 := ((((1 : α) * t1971) + t1987) + t1986)
-  let t1992 := ((0 : α) * t1971)
-  let t1994 := ((t1992 + ((1 : α) * t1972)) + t1986)
-  let t1996 := (t1992 + t1987)
-  let t1997 := (t1996 + ((1 : α) * t1973))
-  let t1999 := ((0 : α) * t1980)
-  let t2000 := ((0 : α) * t1979)
-  let t2003 := ((((1 : α) * t1976) + t2000) + t1999)
-  let t2005 := ((0 : α) * t1976)
-  let t2007 := ((t2005 + ((1 : α) * t1979)) + t1999)
-  let t2009 := (t2005 + t2000)
-  let t2010 := (t2009 + ((1 : α) * t1980))
-  let t2025 := ((t1996 + t1986) * (0 : α))
-  let t2051 := ((t2009 + t1999) * (0 : α))
-  let t2057 := ((((t2003 * t339) + (t2007 * t332)) + (t2010 * t322)) + t2051)
-  let t2063 := ((((t2003 * t336) + (t2007 * t328)) + (t2010 * t318)) + t2051)
-  ⟨((atan2 (-((((t1990 * t336) + (t1994 * t328)) + (t1997 * t318)) + t2025)) ((((t1990 * t339) + (t1994 * t332)) + (t1997 * t322)) + t2025)) * (-(1 : α))), ((atan2 (-((((t2003 * t334) + (t2007 * ((2 : α) * (t316 + t315)))) + (t2010 * t314)) + t2051)) (sqrt ((t2063 * t2063) + (t2057 * t2057)))) * (-(1 : α))), (t1968 * (-(1 : α)))⟩
+  let t306 := (q.v.x * q.v.x)
+  let t307 := (q.v.y * q.v.y)
+  let t311 := ((1 : α) - ((2 : α) * (t307 + t306)))
+  let t312 := (q.v.x * q.r)
+  let t313 := (q.v.y * q.v.z)
+  let t316 := (q.v.y * q.r)
+  let t317 := (q.v.z * q.v.x)
+  let t322 := (q.v.z * q.v.z)
+  let t325 := ((1 : α) - ((2 : α) * (t322 + t306)))
+  let t326 := (q.v.z * q.r)
+  let t327 := (q.v.x * q.v.y)
+  let t329 := ((2 : α) * (t327 - t326))
+  let t331 := ((2 : α) * (t317 - t316))
+  let t1946 := (atan2 t331 t311)
+  let t1948 := (sin t1946)
+  let t1954 := (((-t68) * t66) + ((t66 * t1948) * t68))
+  let t1957 := ((t66 * t66) + ((t68 * t1948) * t68))
+  let t1958 := ((cos t1946) * t68)
+  let t1977 := ((0 : α) * t1958)
+  let t1978 := ((0 : α) * t1957)
+  let t1981 := ((((1 : α) * t1954) + t1978) + t1977)
+  let t1983 := ((0 : α) * t1954)
+  let t1985 := ((t1983 + ((1 : α) * t1957)) + t1977)
+  let t1987 := (t1983 + t1978)
+  let t1988 := (t1987 + ((1 : α) * t1958))
+  let t2029 := ((t1987 + t1977) * (0 : α))
+  let t2035 := ((((t1981 * ((1 : α) - ((2 : α) * (t307 + t322)))) + (t1985 * t329)) + (t1988 * ((2 : α) * (t317 + t316)))) + t2029)
+  let t2041 := ((((t1981 * ((2 : α) * (t327 + t326))) + (t1985 * t325)) + (t1988 * ((2 : α) * (t313 - t312)))) + t2029)
+  ⟨((atan2 t329 t325) * (-(1 : α))), ((atan2 (-((((t1981 * t331) + (t1985 * ((2 : α) * (t313 + t312)))) + (t1988 * t311)) + t2029)) (sqrt ((t2041 * t2041) + (t2035 * t2035)))) * (-(1 : α))), (t1946 * (-(1 : α)))⟩
 
 /-- extracted from the C++ template at T = Sym; 1 path(s) -/
 def Euler.ctorXYZLayout_YZXr {α : Type} (v : V3 α) : ((V3 α) × Int) :=
@@ -5808,44 +4792,28 @@ def Euler.reorderFromXYZ_YZXr {α : Type} [Add α] [Sub α] [Mul α] [Neg α] [O
   let t11 := (t4 * t9)
   let t12 := (t7 * t6)
   let t13 := (t7 * t9)
-  let t15 := (t5 * t6)
   let t17 := ((t8 * t12) - t11)
-  let t19 := ((t8 * t10) + t13)
-  let t20 := (t5 * t9)
   let t22 := ((t8 * t13) + t10)
-  let t24 := ((t8 * t11) - t12)
   let t25 := (-t8)
   let t27 := (t5 * t4)
   let t66 := (cos (0 : α))
   let t68 := (sin (0 : α))
-  let t2114 := (atan2 t25 t27)
-  let t2115 := (cos t2114)
-  let t2116 := (sin t2114)
-  let t2117 := (t66 * t2115)
-  let t2118 := (t68 * t2115)
-  let t2119 := (-t2116)
-  let t2122 := (((-t68) * t66) + ((t66 * t2116) * t68))
-  let t2125 := ((t66 * t66) + ((t68 * t2116) * t68))
-  let t2126 := (t2115 * t68)
-  let t2132 := ((0 : α) * t2119)
-  let t2133 := ((0 : α) * t2118)
-  let t2136 := ((((1 : α) * t2117) + t2133) + t2132)
-  let t2138 := ((0 : α) * t2117)
-  let t2140 := ((t2138 + ((1 : α) * t2118)) + t2132)
-  let t2142 := (t2138 + t2133)
-  let t2143 := (t2142 + ((1 : α) * t2119))
-  let t2145 := ((0 : α) * t2126)
-  let t2146 := ((0 : α) * t2125)
-  let t2149 := ((((1 : α) * t2122) + t2146) + t2145)
-  let t2151 := ((0 : α) * t2122)
-  let t2153 := ((t2151 + ((1 : α) * t2125)) + t2145)
-  let t2155 := (t2151 + t2146)
-  let t2156 := (t2155 + ((1 : α) * t2126))
-  let t2171 := ((t2142 + t2132) * (0 : α))
-  let t2197 := ((t2155 + t2145) * (0 : α))
-  let t2203 := ((((t2149 * t15) + (t2153 * t17)) + (t2156 * t19)) + t2197)
-  let t2209 := ((((t2149 * t20) + (t2153 * t22)) + (t2156 * t24)) + t2197)
-  (⟨((atan2 (-((((t2136 * t20) + (t2140 * t22)) + (t2143 * t24)) + t2171)) ((((t2136 * t15) + (t2140 * t17)) + (t2143 * t19)) + t2171)) * (-(1 : α))), ((atan2 (-((((t2149 * t25) + (t2153 * (t5 * t7))) + (t2156 * t27)) + t2197)) (sqrt ((t2209 * t2209) + (t2203 * t2203)))) * (-(1 : α))), (t2114 * (-(1 : α)))⟩, (4096 : Int))
+  let t2091 := (atan2 t25 t27)
+  let t2093 := (sin t2091)
+  let t2099 := (((-t68) * t66) + ((t66 * t2093) * t68))
+  let t2102 := ((t66 * t66) + ((t68 * t2093) * t68))
+  let t2103 := ((cos t2091) * t68)
+  let t2122 := ((0 : α) * t2103)
+  let t2123 := ((0 : α) * t2102)
+  let t2126 := ((((1 : α) * t2099) + t2123) + t2122)
+  let t2128 := ((0 : α) * t2099)
+  let t2130 := ((t2128 + ((1 : α) * t2102)) + t2122)
+  let t2132 := (t2128 + t2123)
+  let t2133 := (t2132 + ((1 : α) * t2103))
+  let t2174 := ((t2132 + t2122) * (0 : α))
+  let t2180 := ((((t2126 * (t5 * t6)) + (t2130 * t17)) + (t2133 * ((t8 * t10) + t13))) + t2174)
+  let t2186 := ((((t2126 * (t5 * t9)) + (t2130 * t22)) + (t2133 * ((t8 * t11) - t12))) + t2174)
+  (⟨((atan2 t17 t22) * (-(1 : α))), ((atan2 (-((((t2126 * t25) + (t2130 * (t5 * t7))) + (t2133 * t27)) + t2174)) (sqrt ((t2186 * t2186) + (t2180 * t2180)))) * (-(1 : α))), (t2091 * (-(1 : α)))⟩, (4096 : Int))
 
 /-- extracted from the C++ template at T = Sym; 1 path(s) -/
 def Euler.reorderToZYXr_YZXr {α : Type} [Add α] [Sub α] [Mul α] [Neg α] [OfNat α 0] [OfNat α 1] (sqrt : α → α) (sin : α → α) (cos : α → α) (atan2 : α → α → α) (a : V3 α) : ((V3 α) × Int) :=
@@ -5862,45 +4830,26 @@ def Euler.reorderToZYXr_YZXr {α : Type} [Add α] [Sub α] [Mul α] [Neg α] [Of
   let t99 := (t95 + t90)
   let t100 := (t99 + ((1 : α) * t72))
   let t128 := ((t99 + t89) * (0 : α))
-  let t627 := (a.x * (-(1 : α)))
-  let t628 := (a.y * (-(1 : α)))
-  let t629 := (a.z * (-(1 : α)))
-  let t630 := (cos t627)
-  let t631 := (cos t628)
-  let t632 := (cos t629)
-  let t633 := (sin t627)
-  let t634 := (sin t628)
-  let t635 := (sin t629)
-  let t640 := (t631 * t632)
-  let t650 := (-t634)
-  let t651 := (t631 * t633)
-  let t652 := (t631 * t630)
-  let t6975 := (t632 * t630)
-  let t6976 := (t632 * t633)
-  let t6977 := (t635 * t630)
-  let t6978 := (t635 * t633)
-  let t6980 := ((t634 * t6977) - t6976)
-  let t6982 := ((t634 * t6975) + t6978)
-  let t6984 := ((t634 * t6978) + t6975)
-  let t6986 := ((t634 * t6976) - t6977)
-  let t7289 := (atan2 t650 t640)
-  let t7290 := (-t7289)
-  let t7291 := (cos t7290)
-  let t7292 := (sin t7290)
-  let t7295 := ((t72 * t7291) + ((t66 * t68) * t7292))
-  let t7298 := ((t66 * t7291) + ((t68 * t68) * t7292))
-  let t7299 := (t66 * t7292)
-  let t7307 := ((0 : α) * t7299)
-  let t7308 := ((0 : α) * t7298)
-  let t7311 := ((((1 : α) * t7295) + t7308) + t7307)
-  let t7313 := ((0 : α) * t7295)
-  let t7315 := ((t7313 + ((1 : α) * t7298)) + t7307)
-  let t7317 := (t7313 + t7308)
-  let t7318 := (t7317 + ((1 : α) * t7299))
-  let t7337 := ((((t93 * t6984) + (t97 * t651)) + (t100 * t6986)) + t128)
-  let t7342 := ((((t93 * t6980) + (t97 * t652)) + (t100 * t6982)) + t128)
-  let t7346 := ((t7317 + t7307) * (0 : α))
-  (⟨(atan2 (-((((t7311 * t6984) + (t7315 * t651)) + (t7318 * t6986)) + t7346)) ((((t7311 * t6980) + (t7315 * t652)) + (t7318 * t6982)) + t7346)), (atan2 (-((((t93 * (t631 * t635)) + (t97 * t650)) + (t100 * t640)) + t128)) (sqrt ((t7337 * t7337) + (t7342 * t7342)))), t7289⟩, (256 : Int))
+  let t622 := (a.x * (-(1 : α)))
+  let t623 := (a.y * (-(1 : α)))
+  let t624 := (a.z * (-(1 : α)))
+  let t625 := (cos t622)
+  let t626 := (cos t623)
+  let t627 := (cos t624)
+  let t628 := (sin t622)
+  let t629 := (sin t623)
+  let t630 := (sin t624)
+  let t635 := (t626 * t627)
+  let t645 := (-t629)
+  let t6929 := (t627 * t625)
+  let t6930 := (t627 * t628)
+  let t6931 := (t630 * t625)
+  let t6932 := (t630 * t628)
+  let t6934 := ((t629 * t6931) - t6930)
+  let t6938 := ((t629 * t6932) + t6929)
+  let t7288 := ((((t93 * t6938) + (t97 * (t626 * t628))) + (t100 * ((t629 * t6930) - t6931))) + t128)
+  let t7293 := ((((t93 * t6934) + (t97 * (t626 * t625))) + (t100 * ((t629 * t6929) + t6932))) + t128)
+  (⟨(atan2 t6934 t6938), (atan2 (-((((t93 * (t626 * t630)) + (t97 * t645)) + (t100 * t635)) + t128)) (sqrt ((t7288 * t7288) + (t7293 * t7293)))), (atan2 t645 t635)⟩, (256 : Int))
 
 /-- extracted from the C++ template at T = Sym; 1 path(s) -/
 def Euler.toMatrix33_YXZr {α : Type} [Add α] [Sub α] [Mul α] [Neg α] (sin : α → α) (cos : α → α) (a : V3 α) : (M33 α) :=
@@ -5910,11 +4859,11 @@ def Euler.toMatrix33_YXZr {α : Type} [Add α] [Sub α] [Mul α] [Neg α] (sin :
   let t7 := (sin a.x)
   let t8 := (sin a.y)
   let t9 := (sin a.z)
-  let t7134 := (t6 * t4)
-  let t7135 := (t6 * t7)
-  let t7136 := (t9 * t4)
-  let t7137 := (t9 * t7)
-  ⟨(t5 * t6), ((t8 * t7134) + t7137), ((t8 * t7135) - t7136), (-t8), (t5 * t4), (t5 * t7), (t5 * t9), ((t8 * t7136) - t7135), ((t8 * t7137) + t7134)⟩
+  let t7087 := (t6 * t4)
+  let t7088 := (t6 * t7)
+  let t7089 := (t9 * t4)
+  let t7090 := (t9 * t7)
+  ⟨(t5 * t6), ((t8 * t7087) + t7090), ((t8 * t7088) - t7089), (-t8), (t5 * t4), (t5 * t7), (t5 * t9), ((t8 * t7089) - t7088), ((t8 * t7090) + t7087)⟩
 
 /-- extracted from the C++ template at T = Sym; 1 path(s) -/
 def Euler.toMatrix44_YXZr {α : Type} [Add α] [Sub α] [Mul α] [Neg α] [OfNat α 0] [OfNat α 1] (sin : α → α) (cos : α → α) (a : V3 α) : (M44 α) :=
@@ -5924,11 +4873,11 @@ def Euler.toMatrix44_YXZr {α : Type} [Add α] [Sub α] [Mul α] [Neg α] [OfNat
   let t7 := (sin a.x)
   let t8 := (sin a.y)
   let t9 := (sin a.z)
-  let t7134 := (t6 * t4)
-  let t7135 := (t6 * t7)
-  let t7136 := (t9 * t4)
-  let t7137 := (t9 * t7)
-  ⟨(t5 * t6), ((t8 * t7134) + t7137), ((t8 * t7135) - t7136), (0 : α), (-t8), (t5 * t4), (t5 * t7), (0 : α), (t5 * t9), ((t8 * t7136) - t7135), ((t8 * t7137) + t7134), (0 : α), (0 : α), (0 : α), (0 : α), (1 : α)⟩
+  let t7087 := (t6 * t4)
+  let t7088 := (t6 * t7)
+  let t7089 := (t9 * t4)
+  let t7090 := (t9 * t7)
+  ⟨(t5 * t6), ((t8 * t7087) + t7090), ((t8 * t7088) - t7089), (0 : α), (-t8), (t5 * t4), (t5 * t7), (0 : α), (t5 * t9), ((t8 * t7089) - t7088), ((t8 * t7090) + t7087), (0 : α), (0 : α), (0 : α), (0 : α), (1 : α)⟩
 
 /-- extracted from the C++ template at T = Sym; 1 path(s) -/
 def Euler.toQuat_YXZr {α : Type} [Add α] [Sub α] [Mul α] [Div α] [OfNat α 1] [OfNat α 2] (sin : α → α) (cos : α → α) (a : V3 α) : (Quat α) :=
@@ -5941,213 +4890,134 @@ def Euler.toQuat_YXZr {α : Type} [Add α] [Sub α] [Mul α] [Div α] [OfNat α 
   let t35 := (sin t29)
   let t36 := (sin t30)
   let t37 := (sin t31)
-  let t6987 := (t34 * t32)
-  let t6988 := (t34 * t35)
-  let t6989 := (t37 * t32)
-  let t6990 := (t37 * t35)
-  ⟨((t33 * t6987) + (t36 * t6990)), ⟨((t33 * t6988) - (t36 * t6989)), ((t33 * t6989) - (t36 * t6988)), (((t33 * t6990) + (t36 * t6987)) * (1 : α))⟩⟩
+  let t6941 := (t34 * t32)
+  let t6942 := (t34 * t35)
+  let t6943 := (t37 * t32)
+  let t6944 := (t37 * t35)
+  ⟨((t33 * t6941) + (t36 * t6944)), ⟨((t33 * t6942) - (t36 * t6943)), ((t33 * t6943) - (t36 * t6942)), (((t33 * t6944) + (t36 * t6941)) * (1 : α))⟩⟩
 
 /-- extracted from the C++ template at T = Sym; 1 path(s) -/
 def Euler.extractM33_YXZr {α : Type} [Add α] [Mul α] [Neg α] [OfNat α 0] [OfNat α 1] (sqrt : α → α) (sin : α → α) (cos : α → α) (atan2 : α → α → α) (m : M33 α) : (V3 α) :=
   let t66 := (cos (0 : α))
   let t68 := (sin (0 : α))
-  let t72 := (-t68)
-  let t1160 := (atan2 m.x20 m.x00)
-  let t1161 := (-t1160)
-  let t1162 := (cos t1161)
-  let t1163 := (sin t1161)
-  let t1167 := (t66 * t1163)
-  let t1170 := ((t72 * t66) + (t1167 * t68))
-  let t1171 := (t68 * t1163)
-  let t1173 := ((t66 * t66) + (t1171 * t68))
-  let t1174 := (t1162 * t68)
-  let t1177 := ((t72 * t72) + (t1167 * t66))
-  let t1180 := ((t66 * t72) + (t1171 * t66))
-  let t1181 := (t1162 * t66)
-  let t1195 := ((0 : α) * t1174)
-  let t1196 := ((0 : α) * t1173)
-  let t1199 := ((((1 : α) * t1170) + t1196) + t1195)
-  let t1201 := ((0 : α) * t1170)
-  let t1203 := ((t1201 + ((1 : α) * t1173)) + t1195)
-  let t1205 := (t1201 + t1196)
-  let t1206 := (t1205 + ((1 : α) * t1174))
-  let t1208 := ((0 : α) * t1181)
-  let t1209 := ((0 : α) * t1180)
-  let t1212 := ((((1 : α) * t1177) + t1209) + t1208)
-  let t1214 := ((0 : α) * t1177)
-  let t1216 := ((t1214 + ((1 : α) * t1180)) + t1208)
-  let t1218 := (t1214 + t1209)
-  let t1219 := (t1218 + ((1 : α) * t1181))
-  let t1247 := ((t1205 + t1195) * (0 : α))
-  let t1259 := ((((t1199 * m.x01) + (t1203 * m.x11)) + (t1206 * m.x21)) + t1247)
-  let t1265 := ((((t1199 * m.x02) + (t1203 * m.x12)) + (t1206 * m.x22)) + t1247)
-  let t1273 := ((t1218 + t1208) * (0 : α))
-  ⟨(atan2 (-((((t1212 * m.x01) + (t1216 * m.x11)) + (t1219 * m.x21)) + t1273)) ((((t1212 * m.x02) + (t1216 * m.x12)) + (t1219 * m.x22)) + t1273)), (atan2 (-((((t1199 * m.x00) + (t1203 * m.x10)) + (t1206 * m.x20)) + t1247)) (sqrt ((t1259 * t1259) + (t1265 * t1265)))), t1160⟩
+  let t1148 := (atan2 m.x20 m.x00)
+  let t1149 := (-t1148)
+  let t1151 := (sin t1149)
+  let t1158 := (((-t68) * t66) + ((t66 * t1151) * t68))
+  let t1161 := ((t66 * t66) + ((t68 * t1151) * t68))
+  let t1162 := ((cos t1149) * t68)
+  let t1183 := ((0 : α) * t1162)
+  let t1184 := ((0 : α) * t1161)
+  let t1187 := ((((1 : α) * t1158) + t1184) + t1183)
+  let t1189 := ((0 : α) * t1158)
+  let t1191 := ((t1189 + ((1 : α) * t1161)) + t1183)
+  let t1193 := (t1189 + t1184)
+  let t1194 := (t1193 + ((1 : α) * t1162))
+  let t1235 := ((t1193 + t1183) * (0 : α))
+  let t1247 := ((((t1187 * m.x01) + (t1191 * m.x11)) + (t1194 * m.x21)) + t1235)
+  let t1253 := ((((t1187 * m.x02) + (t1191 * m.x12)) + (t1194 * m.x22)) + t1235)
+  ⟨(atan2 m.x12 m.x11), (atan2 (-((((t1187 * m.x00) + (t1191 * m.x10)) + (t1194 * m.x20)) + t1235)) (sqrt ((t1247 * t1247) + (t1253 * t1253)))), t1148⟩
 
 /-- extracted from the C++ template at T = Sym; 1 path(s) -/
 def Euler.extractM44_YXZr {α : Type} [Add α] [Mul α] [Neg α] [OfNat α 0] [OfNat α 1] (sqrt : α → α) (sin : α → α) (cos : α → α) (atan2 : α → α → α) (m : M44 α) : (V3 α) :=
   let t66 := (cos (0 : α))
   let t68 := (sin (0 : α))
-  let t72 := (-t68)
-  let t1160 := (atan2 m.x20 m.x00)
-  let t1161 := (-t1160)
-  let t1162 := (cos t1161)
-  let t1163 := (sin t1161)
-  let t1167 := (t66 * t1163)
-  let t1170 := ((t72 * t66) + (t1167 * t68))
-  let t1171 := (t68 * t1163)
-  let t1173 := ((t66 * t66) + (t1171 * t68))
-  let t1174 := (t1162 * t68)
-  let t1177 := ((t72 * t72) + (t1167 * t66))
-  let t1180 := ((t66 * t72) + (t1171 * t66))
-  let t1181 := (t1162 * t66)
-  let t1195 := ((0 : α) * t1174)
-  let t1196 := ((0 : α) * t1173)
-  let t1199 := ((((1 : α) * t1170) + t1196) + t1195)
-  let t1201 := ((0 : α) * t1170)
-  let t1203 := ((t1201 + ((1 : α) * t1173)) + t1195)
-  let t1205 := (t1201 + t1196)
-  let t1206 := (t1205 + ((1 : α) * t1174))
-  let t1207 := (t1205 + t1195)
-  let t1208 := ((0 : α) * t1181)
-  let t1209 := ((0 : α) * t1180)
-  let t1212 := ((((1 : α) * t1177) + t1209) + t1208)
-  let t1214 := ((0 : α) * t1177)
-  let t1216 := ((t1214 + ((1 : α) * t1180)) + t1208)
-  let t1218 := (t1214 + t1209)
-  let t1219 := (t1218 + ((1 : α) * t1181))
-  let t1220 := (t1218 + t1208)
-  let t1323 := ((((t1199 * m.x01) + (t1203 * m.x11)) + (t1206 * m.x21)) + (t1207 * m.x31))
-  let t1325 := ((((t1199 * m.x02) + (t1203 * m.x12)) + (t1206 * m.x22)) + (t1207 * m.x32))
-  ⟨(atan2 (-((((t1212 * m.x01) + (t1216 * m.x11)) + (t1219 * m.x21)) + (t1220 * m.x31))) ((((t1212 * m.x02) + (t1216 * m.x12)) + (t1219 * m.x22)) + (t1220 * m.x32))), (atan2 (-((((t1199 * m.x00) + (t1203 * m.x10)) + (t1206 * m.x20)) + (t1207 * m.x30))) (sqrt ((t1323 * t1323) + (t1325 * t1325)))), t1160⟩
+  let t1148 := (atan2 m.x20 m.x00)
+  let t1149 := (-t1148)
+  let t1151 := (sin t1149)
+  let t1158 := (((-t68) * t66) + ((t66 * t1151) * t68))
+  let t1161 := ((t66 * t66) + ((t68 * t1151) * t68))
+  let t1162 := ((cos t1149) * t68)
+  let t1183 := ((0 : α) * t1162)
+  let t1184 := ((0 : α) * t1161)
+  let t1187 := ((((1 : α) * t1158) + t1184) + t1183)
+  let t1189 := ((0 : α) * t1158)
+  let t1191 := ((t1189 + ((1 : α) * t1161)) + t1183)
+  let t1193 := (t1189 + t1184)
+  let t1194 := (t1193 + ((1 : α) * t1162))
+  let t1195 := (t1193 + t1183)
+  let t1310 := ((((t1187 * m.x01) + (t1191 * m.x11)) + (t1194 * m.x21)) + (t1195 * m.x31))
+  let t1312 := ((((t1187 * m.x02) + (t1191 * m.x12)) + (t1194 * m.x22)) + (t1195 * m.x32))
+  ⟨(atan2 m.x12 m.x11), (atan2 (-((((t1187 * m.x00) + (t1191 * m.x10)) + (t1194 * m.x20)) + (t1195 * m.x30))) (sqrt ((t1310 * t1310) + (t1312 * t1312)))), t1148⟩
 
 /-- extracted from the C++ template at T = Sym; 1 path(s) -/
 def Euler.ctorM33_YXZr {α : Type} [Add α] [Mul α] [Neg α] [OfNat α 0] [OfNat α 1] (sqrt : α → α) (sin : α → α) (cos : α → α) (atan2 : α → α → α) (m : M33 α) : ((V3 α) × Int) :=
   let t66 := (cos (0 : α))
   let t68 := (sin (0 : α))
-  let t72 := (-t68)
-  let t1160 := (atan2 m.x20 m.x00)
-  let t1161 := (-t1160)
-  let t1162 := (cos t1161)
-  let t1163 := (sin t1161)
-  let t1167 := (t66 * t1163)
-  let t1170 := ((t72 * t66) + (t1167 * t68))
-  let t1171 := (t68 * t1163)
-  let t1173 := ((t66 * t66) + (t1171 * t68))
-  let t1174 := (t1162 * t68)
-  let t1177 := ((t72 * t72) + (t1167 * t66))
-  let t1180 := ((t66 * t72) + (t1171 * t66))
-  let t1181 := (t1162 * t66)
-  let t1195 := ((0 : α) * t1174)
-  let t1196 := ((0 : α) * t1173)
-  let t1199 := ((((1 : α) * t1170) + t1196) + t1195)
-  let t1201 := ((0 : α) * t1170)
-  let t1203 := ((t1201 + ((1 : α) * t1173)) + t1195)
-  let t1205 := (t1201 + t1196)
-  let t1206 := (t1205 + ((1 : α) * t1174))
-  let t1208 := ((0 : α) * t1181)
-  let t1209 := ((0 : α) * t1180)
-  let t1212 := ((((1 : α) * t1177) + t1209) + t1208)
-  let t1214 := ((0 : α) * t1177)
-  let t1216 := ((t1214 + ((1 : α) * t1180)) + t1208)
-  let t1218 := (t1214 + t1209)
-  let t1219 := (t1218 + ((1 : α) * t1181))
-  let t1247 := ((t1205 + t1195) * (0 : α))
-  let t1259 := ((((t1199 * m.x01) + (t1203 * m.x11)) + (t1206 * m.x21)) + t1247)
-  let t1265 := ((((t1199 * m.x02) + (t1203 * m.x12)) + (t1206 * m.x22)) + t1247)
-  let t1273 := ((t1218 + t1208) * (0 : α))
-  (⟨(atan2 (-((((t1212 * m.x01) + (t1216 * m.x11)) + (t1219 * m.x21)) + t1273)) ((((t1212 * m.x02) + (t1216 * m.x12)) + (t1219 * m.x22)) + t1273)), (atan2 (-((((t1199 * m.x00) + (t1203 * m.x10)) + (t1206 * m.x20)) + t1247)) (sqrt ((t1259 * t1259) + (t1265 * t1265)))), t1160⟩, (4352 : Int))
+  let t1148 := (atan2 m.x20 m.x00)
+  let t1149 := (-t1148)
+  let t1151 := (sin t1149)
+  let t1158 := (((-t68) * t66) + ((t66 * t1151) * t68))
+  let t1161 := ((t66 * t66) + ((t68 * t1151) * t68))
+  let t1162 := ((cos t1149) * t68)
+  let t1183 := ((0 : α) * t1162)
+  let t1184 := ((0 : α) * t1161)
+  let t1187 := ((((1 : α) * t1158) + t1184) + t1183)
+  let t1189 := ((0 : α) * t1158)
+  let t1191 := ((t1189 + ((1 : α) * t1161)) + t1183)
+  let t1193 := (t1189 + t1184)
+  let t1194 := (t1193 + ((1 : α) * t1162))
+  let t1235 := ((t1193 + t1183) * (0 : α))
+  let t1247 := ((((t1187 * m.x01) + (t1191 * m.x11)) + (t1194 * m.x21)) + t1235)
+  let t1253 := ((((t1187 * m.x02) + (t1191 * m.x12)) + (t1194 * m.x22)) + t1235)
+  (⟨(atan2 m.x12 m.x11), (atan2 (-((((t1187 * m.x00) + (t1191 * m.x10)) + (t1194 * m.x20)) + t1235)) (sqrt ((t1247 * t1247) + (t1253 * t1253)))), t1148⟩, (4352 : Int))
 
 /-- extracted from the C++ template at T = Sym; 1 path(s) -/
 def Euler.ctorM44_YXZr {α : Type} [Add α] [Mul α] [Neg α] [OfNat α 0] [OfNat α 1] (sqrt : α → α) (sin : α → α) (cos : α → α) (atan2 : α → α → α) (m : M44 α) : ((V3 α) × Int) :=
   let t66 := (cos (0 : α))
   let t68 := (sin (0 : α))
-  let t72 := (-t68)
-  let t1160 := (atan2 m.x20 m.x00)
-  let t1161 := (-t1160)
-  let t1162 := (cos t1161)
-  let t1163 := (sin t1161)
-  let t1167 := (t66 * t1163)
-  let t1170 := ((t72 * t66) + (t1167 * t68))
-  let t1171 := (t68 * t1163)
-  let t1173 := ((t66 * t66) + (t1171 * t68))
-  let t1174 := (t1162 * t68)
-  let t1177 := ((t72 * t72) + (t1167 * t66))
-  let t1180 := ((t66 * t72) + (t1171 * t66))
-  let t1181 := (t1162 * t66)
-  let t1195 := ((0 : α) * t1174)
-  let t1196 := ((0 : α) * t1173)
-  let t1199 := ((((1 : α) * t1170) + t1196) + t1195)
-  let t1201 := ((0 : α) * t1170)
-  let t1203 := ((t1201 + ((1 : α) * t1173)) + t1195)
-  let t1205 := (t1201 + t1196)
-  let t1206 := (t1205 + ((1 : α) * t1174))
-  let t1207 := (t1205 + t1195)
-  let t1208 := ((0 : α) * t1181)
-  let t1209 := ((0 : α) * t1180)
-  let t1212 := ((((1 : α) * t1177) + t1209) + t1208)
-  let t1214 := ((0 : α) * t1177)
-  let t1216 := ((t1214 + ((1 : α) * t1180)) + t1208)
-  let t1218 := (t1214 + t1209)
-  let t1219 := (t1218 + ((1 : α) * t1181))
-  let t1220 := (t1218 + t1208)
-  let t1323 := ((((t1199 * m.x01) + (t1203 * m.x11)) + (t1206 * m.x21)) + (t1207 * m.x31))
-  let t1325 := ((((t1199 * m.x02) + (t1203 * m.x12)) + (t1206 * m.x22)) + (t1207 * m.x32))
-  (⟨(atan2 (-((((t1212 * m.x01) + (t1216 * m.x11)) + (t1219 * m.x21)) + (t1220 * m.x31))) ((((t1212 * m.x02) + (t1216 * m.x12)) + (t1219 * m.x22)) + (t1220 * m.x32))), (atan2 (-((((t1199 * m.x00) + (t1203 * m.x10)) + (t1206 * m.x20)) + (t1207 * m.x30))) (sqrt ((t1323 * t1323) + (t1325 * t1325)))), t1160⟩, (4352 : Int))
+  let t1148 := (atan2 m.x20 m.x00)
+  let t1149 := (-t1148)
+  let t1151 := (sin t1149)
+  let t1158 := (((-t68) * t66) + ((t66 * t1151) * t68))
+  let t1161 := ((t66 * t66) + ((t68 * t1151) * t68))
+  let t1162 := ((cos t1149) * t68)
+  let t1183 := ((0 : α) * t1162)
+  let t1184 := ((0 : α) * t1161)
+  let t1187 := ((((1 : α) * t1158) + t1184) + t1183)
+  let t1189 := ((0 : α) * t1158)
+  let t1191 := ((t1189 + ((1 : α) * t1161)) + t1183)
+  let t1193 := (t1189 + t1184)
+  let t1194 := (t1193 + ((1 : α) * t1162))
+  let t1195 := (t1193 + t1183)
+  let t1310 := ((((t1187 * m.x01) + (t1191 * m.x11)) + (t1194 * m.x21)) + (t1195 * m.x31))
+  let t1312 := ((((t1187 * m.x02) + (t1191 * m.x12)) + (t1194 * m.x22)) + (t1195 * m.x32))
+  (⟨(atan2 m.x12 m.x11), (atan2 (-((((t1187 * m.x00) + (t1191 * m.x10)) + (t1194 * m.x20)) + (t1195 * m.x30))) (sqrt ((t1310 * t1310) + (t1312 * t1312)))), t1148⟩, (4352 : Int))
 
 /-- extracted from the C++ template at T = Sym; 1 path(s) -/
 def Euler.extractQuat_YXZr {α : Type} [Add α] [Sub α] [Mul α] [Neg α] [OfNat α 0] [OfNat α 1] [OfNat α 2] (sqrt : α → α) (sin : α → α) (cos : α → α) (atan2 : α → α → α) (q : Quat α) : (V3 α) :=
   let t66 := (cos (0 : α))
   let t68 := (sin (0 : α))
-  let t72 := (-t68)
-  let t309 := (q.v.x * q.v.x)
-  let t310 := (q.v.y * q.v.y)
-  let t314 := ((1 : α) - ((2 : α) * (t310 + t309)))
-  let t315 := (q.v.x * q.r)
-  let t316 := (q.v.y * q.v.z)
-  let t318 := ((2 : α) * (t316 - t315))
-  let t319 := (q.v.y * q.r)
-  let t320 := (q.v.z * q.v.x)
-  let t322 := ((2 : α) * (t320 + t319))
-  let t324 := ((2 : α) * (t316 + t315))
-  let t325 := (q.v.z * q.v.z)
-  let t328 := ((1 : α) - ((2 : α) * (t325 + t309)))
-  let t329 := (q.v.z * q.r)
-  let t330 := (q.v.x * q.v.y)
-  let t334 := ((2 : α) * (t320 - t319))
-  let t336 := ((2 : α) * (t330 + t329))
-  let t339 := ((1 : α) - ((2 : α) * (t310 + t325)))
-  let t1354 := (atan2 t322 t339)
-  let t1355 := (-t1354)
-  let t1356 := (cos t1355)
-  let t1357 := (sin t1355)
-  let t1361 := (t66 * t1357)
-  let t1363 := ((t72 * t66) + (t1361 * t68))
-  let t1364 := (t68 * t1357)
-  let t1366 := ((t66 * t66) + (t1364 * t68))
-  let t1367 := (t1356 * t68)
-  let t1369 := ((t72 * t72) + (t1361 * t66))
-  let t1371 := ((t66 * t72) + (t1364 * t66))
-  let t1372 := (t1356 * t66)
-  let t1386 := ((0 : α) * t1367)
-  let t1387 := ((0 : α) * t1366)
-  let t1390 := ((((1 : α) * t1363) + t1387) + t1386)
-  let t1392 := ((0 : α) * t1363)
-  let t1394 := ((t1392 + ((1 : α) * t1366)) + t1386)
-  let t1396 := (t1392 + t1387)
-  let t1397 := (t1396 + ((1 : α) * t1367))
-  let t1399 := ((0 : α) * t1372)
-  let t1400 := ((0 : α) * t1371)
-  let t1403 := ((((1 : α) * t1369) + t1400) + t1399)
-  let t1405 := ((0 : α) * t1369)
-  let t1407 := ((t1405 + ((1 : α) * t1371)) + t1399)
-  let t1409 := (t1405 + t1400)
-  let t1410 := (t1409 + ((1 : α) * t1372))
-  let t1438 := ((t1396 + t1386) * (0 : α))
-  let t1450 := ((((t1390 * t336) + (t1394 * t328)) + (t1397 * t318)) + t1438)
-  let t1456 := ((((t1390 * t334) + (t1394 * t324)) + (t1397 * t314)) + t1438)
-  let t1464 := ((t1409 + t1399) * (0 : α))
-  ⟨(atan2 (-((((t1403 * t336) + (t1407 * t328)) + (t1410 * t318)) + t1464)) ((((t1403 * t334) + (t1407 * t324)) + (t1410 * t314)) + t1464)), (atan2 (-((((t1390 * t339) + (t1394 * ((2 : α) * (t330 - t329)))) + (t1397 * t322)) + t1438)) (sqrt ((t1450 * t1450) + (t1456 * t1456)))), t1354⟩
+  let t306 := (q.v.x * q.v.x)
+  let t307 := (q.v.y * q.v.y)
+  let t312 := (q.v.x * q.r)
+  let t313 := (q.v.y * q.v.z)
+  let t316 := (q.v.y * q.r)
+  let t317 := (q.v.z * q.v.x)
+  let t319 := ((2 : α) * (t317 + t316))
+  let t321 := ((2 : α) * (t313 + t312))
+  let t322 := (q.v.z * q.v.z)
+  let t325 := ((1 : α) - ((2 : α) * (t322 + t306)))
+  let t326 := (q.v.z * q.r)
+  let t327 := (q.v.x * q.v.y)
+  let t336 := ((1 : α) - ((2 : α) * (t307 + t322)))
+  let t1339 := (atan2 t319 t336)
+  let t1340 := (-t1339)
+  let t1342 := (sin t1340)
+  let t1348 := (((-t68) * t66) + ((t66 * t1342) * t68))
+  let t1351 := ((t66 * t66) + ((t68 * t1342) * t68))
+  let t1352 := ((cos t1340) * t68)
+  let t1371 := ((0 : α) * t1352)
+  let t1372 := ((0 : α) * t1351)
+  let t1375 := ((((1 : α) * t1348) + t1372) + t1371)
+  let t1377 := ((0 : α) * t1348)
+  let t1379 := ((t1377 + ((1 : α) * t1351)) + t1371)
+  let t1381 := (t1377 + t1372)
+  let t1382 := (t1381 + ((1 : α) * t1352))
+  let t1423 := ((t1381 + t1371) * (0 : α))
+  let t1435 := ((((t1375 * ((2 : α) * (t327 + t326))) + (t1379 * t325)) + (t1382 * ((2 : α) * (t313 - t312)))) + t1423)
+  let t1441 := ((((t1375 * ((2 : α) * (t317 - t316))) + (t1379 * t321)) + (t1382 * ((1 : α) - ((2 : α) * (t307 + t306))))) + t1423)
+  ⟨(atan2 t321 t325), (atan2 (-((((t1375 * t336) + (t1379 * ((2 : α) * (t327 - t326)))) + (t1382 * t319)) + t1423)) (sqrt ((t1435 * t1435) + (t1441 * t1441)))), t1339⟩
 
 /-- extracted from the C++ template at T = Sym; 1 path(s) -/
 def Euler.ctorXYZLayout_YXZr {α : Type} (v : V3 α) : ((V3 α) × Int) :=
@@ -6203,46 +5073,27 @@ def Euler.reorderFromXYZ_YXZr {α : Type} [Add α] [Sub α] [Mul α] [Neg α] [O
   let t13 := (t7 * t9)
   let t15 := (t5 * t6)
   let t19 := ((t8 * t10) + t13)
-  let t20 := (t5 * t9)
   let t22 := ((t8 * t13) + t10)
-  let t24 := ((t8 * t11) - t12)
-  let t25 := (-t8)
   let t26 := (t5 * t7)
-  let t27 := (t5 * t4)
   let t66 := (cos (0 : α))
   let t68 := (sin (0 : α))
-  let t72 := (-t68)
-  let t1498 := (atan2 t19 t15)
-  let t1499 := (-t1498)
-  let t1500 := (cos t1499)
-  let t1501 := (sin t1499)
-  let t1505 := (t66 * t1501)
-  let t1507 := ((t72 * t66) + (t1505 * t68))
-  let t1508 := (t68 * t1501)
-  let t1510 := ((t66 * t66) + (t1508 * t68))
-  let t1511 := (t1500 * t68)
-  let t1513 := ((t72 * t72) + (t1505 * t66))
-  let t1515 := ((t66 * t72) + (t1508 * t66))
-  let t1516 := (t1500 * t66)
-  let t1530 := ((0 : α) * t1511)
-  let t1531 := ((0 : α) * t1510)
-  let t1534 := ((((1 : α) * t1507) + t1531) + t1530)
-  let t1536 := ((0 : α) * t1507)
-  let t1538 := ((t1536 + ((1 : α) * t1510)) + t1530)
-  let t1540 := (t1536 + t1531)
-  let t1541 := (t1540 + ((1 : α) * t1511))
-  let t1543 := ((0 : α) * t1516)
-  let t1544 := ((0 : α) * t1515)
-  let t1547 := ((((1 : α) * t1513) + t1544) + t1543)
-  let t1549 := ((0 : α) * t1513)
-  let t1551 := ((t1549 + ((1 : α) * t1515)) + t1543)
-  let t1553 := (t1549 + t1544)
-  let t1554 := (t1553 + ((1 : α) * t1516))
-  let t1582 := ((t1540 + t1530) * (0 : α))
-  let t1594 := ((((t1534 * t20) + (t1538 * t22)) + (t1541 * t24)) + t1582)
-  let t1600 := ((((t1534 * t25) + (t1538 * t26)) + (t1541 * t27)) + t1582)
-  let t1608 := ((t1553 + t1543) * (0 : α))
-  (⟨(atan2 (-((((t1547 * t20) + (t1551 * t22)) + (t1554 * t24)) + t1608)) ((((t1547 * t25) + (t1551 * t26)) + (t1554 * t27)) + t1608)), (atan2 (-((((t1534 * t15) + (t1538 * ((t8 * t12) - t11))) + (t1541 * t19)) + t1582)) (sqrt ((t1594 * t1594) + (t1600 * t1600)))), t1498⟩, (4352 : Int))
+  let t1482 := (atan2 t19 t15)
+  let t1483 := (-t1482)
+  let t1485 := (sin t1483)
+  let t1491 := (((-t68) * t66) + ((t66 * t1485) * t68))
+  let t1494 := ((t66 * t66) + ((t68 * t1485) * t68))
+  let t1495 := ((cos t1483) * t68)
+  let t1514 := ((0 : α) * t1495)
+  let t1515 := ((0 : α) * t1494)
+  let t1518 := ((((1 : α) * t1491) + t1515) + t1514)
+  let t1520 := ((0 : α) * t1491)
+  let t1522 := ((t1520 + ((1 : α) * t1494)) + t1514)
+  let t1524 := (t1520 + t1515)
+  let t1525 := (t1524 + ((1 : α) * t1495))
+  let t1566 := ((t1524 + t1514) * (0 : α))
+  let t1578 := ((((t1518 * (t5 * t9)) + (t1522 * t22)) + (t1525 * ((t8 * t11) - t12))) + t1566)
+  let t1584 := ((((t1518 * (-t8)) + (t1522 * t26)) + (t1525 * (t5 * t4))) + t1566)
+  (⟨(atan2 t26 t22), (atan2 (-((((t1518 * t15) + (t1522 * ((t8 * t12) - t11))) + (t1525 * t19)) + t1566)) (sqrt ((t1578 * t1578) + (t1584 * t1584)))), t1482⟩, (4352 : Int))
 
 /-- extracted from the C++ template at T = Sym; 1 path(s) -/
 def Euler.reorderToZYXr_YXZr {α : Type} [Add α] [Sub α] [Mul α] [Neg α] [OfNat α 0] [OfNat α 1] (sqrt : α → α) (sin : α → α) (cos : α → α) (atan2 : α → α → α) (a : V3 α) : ((V3 α) × Int) :=
@@ -6253,10 +5104,7 @@ def Euler.reorderToZYXr_YXZr {α : Type} [Add α] [Sub α] [Mul α] [Neg α] [Of
   let t8 := (sin a.y)
   let t9 := (sin a.z)
   let t15 := (t5 * t6)
-  let t20 := (t5 * t9)
-  let t25 := (-t8)
   let t26 := (t5 * t7)
-  let t27 := (t5 * t4)
   let t66 := (cos (0 : α))
   let t68 := (sin (0 : α))
   let t70 := (t66 * t66)
@@ -6270,65 +5118,49 @@ def Euler.reorderToZYXr_YXZr {α : Type} [Add α] [Sub α] [Mul α] [Neg α] [Of
   let t99 := (t95 + t90)
   let t100 := (t99 + ((1 : α) * t72))
   let t128 := ((t99 + t89) * (0 : α))
-  let t7134 := (t6 * t4)
-  let t7135 := (t6 * t7)
-  let t7136 := (t9 * t4)
-  let t7137 := (t9 * t7)
-  let t7139 := ((t8 * t7136) - t7135)
-  let t7141 := ((t8 * t7134) + t7137)
-  let t7143 := ((t8 * t7137) + t7134)
-  let t7415 := (atan2 t26 t7143)
-  let t7416 := (-t7415)
-  let t7417 := (cos t7416)
-  let t7418 := (sin t7416)
-  let t7421 := ((t72 * t7417) + ((t66 * t68) * t7418))
-  let t7424 := ((t66 * t7417) + ((t68 * t68) * t7418))
-  let t7425 := (t66 * t7418)
-  let t7433 := ((0 : α) * t7425)
-  let t7434 := ((0 : α) * t7424)
-  let t7437 := ((((1 : α) * t7421) + t7434) + t7433)
-  let t7439 := ((0 : α) * t7421)
-  let t7441 := ((t7439 + ((1 : α) * t7424)) + t7433)
-  let t7443 := (t7439 + t7434)
-  let t7444 := (t7443 + ((1 : α) * t7425))
-  let t7461 := ((((t93 * t15) + (t97 * t25)) + (t100 * t20)) + t128)
-  let t7466 := ((((t93 * t7141) + (t97 * t27)) + (t100 * t7139)) + t128)
-  let t7472 := ((t7443 + t7433) * (0 : α))
-  (⟨(atan2 (-((((t7437 * t15) + (t7441 * t25)) + (t7444 * t20)) + t7472)) ((((t7437 * t7141) + (t7441 * t27)) + (t7444 * t7139)) + t7472)), (atan2 (-((((t93 * ((t8 * t7135) - t7136)) + (t97 * t26)) + (t100 * t7143)) + t128)) (sqrt ((t7461 * t7461) + (t7466 * t7466)))), t7415⟩, (256 : Int))
+  let t7087 := (t6 * t4)
+  let t7088 := (t6 * t7)
+  let t7089 := (t9 * t4)
+  let t7090 := (t9 * t7)
+  let t7094 := ((t8 * t7087) + t7090)
+  let t7096 := ((t8 * t7090) + t7087)
+  let t7411 := ((((t93 * t15) + (t97 * (-t8))) + (t100 * (t5 * t9))) + t128)
+  let t7416 := ((((t93 * t7094) + (t97 * (t5 * t4))) + (t100 * ((t8 * t7089) - t7088))) + t128)
+  (⟨(atan2 t7094 t15), (atan2 (-((((t93 * ((t8 * t7088) - t7089)) + (t97 * t26)) + (t100 * t7096)) + t128)) (sqrt ((t7411 * t7411) + (t7416 * t7416)))), (atan2 t26 t7096)⟩, (256 : Int))
 
 /-- extracted from the C++ template at T = Sym; 1 path(s) -/
 def Euler.toMatrix33_ZXYr {α : Type} [Add α] [Sub α] [Mul α] [Neg α] [OfNat α 1] (sin : α → α) (cos : α → α) (a : V3 α) : (M33 α) :=
-  let t627 := (a.x * (-(1 : α)))
-  let t628 := (a.y * (-(1 : α)))
-  let t629 := (a.z * (-(1 : α)))
-  let t630 := (cos t627)
-  let t631 := (cos t628)
-  let t632 := (cos t629)
-  let t633 := (sin t627)
-  let t634 := (sin t628)
-  let t635 := (sin t629)
-  let t6975 := (t632 * t630)
-  let t6976 := (t632 * t633)
-  let t6977 := (t635 * t630)
-  let t6978 := (t635 * t633)
-  ⟨(t631 * t630), (-t634), (t631 * t633), ((t634 * t6975) + t6978), (t631 * t632), ((t634 * t6976) - t6977), ((t634 * t6977) - t6976), (t631 * t635), ((t634 * t6978) + t6975)⟩
+  let t622 := (a.x * (-(1 : α)))
+  let t623 := (a.y * (-(1 : α)))
+  let t624 := (a.z * (-(1 : α)))
+  let t625 := (cos t622)
+  let t626 := (cos t623)
+  let t627 := (cos t624)
+  let t628 := (sin t622)
+  let t629 := (sin t623)
+  let t630 := (sin t624)
+  let t6929 := (t627 * t625)
+  let t6930 := (t627 * t628)
+  let t6931 := (t630 * t625)
+  let t6932 := (t630 * t628)
+  ⟨(t626 * t625), (-t629), (t626 * t628), ((t629 * t6929) + t6932), (t626 * t627), ((t629 * t6930) - t6931), ((t629 * t6931) - t6930), (t626 * t630), ((t629 * t6932) + t6929)⟩
 
 /-- extracted from the C++ template at T = Sym; 1 path(s) -/
 def Euler.toMatrix44_ZXYr {α : Type} [Add α] [Sub α] [Mul α] [Neg α] [OfNat α 0] [OfNat α 1] (sin : α → α) (cos : α → α) (a : V3 α) : (M44 α) :=
-  let t627 := (a.x * (-(1 : α)))
-  let t628 := (a.y * (-(1 : α)))
-  let t629 := (a.z * (-(1 : α)))
-  let t630 := (cos t627)
-  let t631 := (cos t628)
-  let t632 := (cos t629)
-  let t633 := (sin t627)
-  let t634 := (sin t628)
-  let t635 := (sin t629)
-  let t6975 := (t632 * t630)
-  let t6976 := (t632 * t633)
-  let t6977 := (t635 * t630)
-  let t6978 := (t635 * t633)
-  ⟨(t631 * t630), (-t634), (t631 * t633), (0 : α), ((t634 * t6975) + t6978), (t631 * t632), ((t634 * t6976) - t6977), (0 : α), ((t634 * t6977) - t6976), (t631 * t635), ((t634 * t6978) + t6975), (0 : α), (0 : α), (0 : α), (0 : α), (1 : α)⟩
+  let t622 := (a.x * (-(1 : α)))
+  let t623 := (a.y * (-(1 : α)))
+  let t624 := (a.z * (-(1 : α)))
+  let t625 := (cos t622)
+  let t626 := (cos t623)
+  let t627 := (cos t624)
+  let t628 := (sin t622)
+  let t629 := (sin t623)
+  let t630 := (sin t624)
+  let t6929 := (t627 * t625)
+  let t6930 := (t627 * t628)
+  let t6931 := (t630 * t625)
+  let t6932 := (t630 * t628)
+  ⟨(t626 * t625), (-t629), (t626 * t628), (0 : α), ((t629 * t6929) + t6932), (t626 * t627), ((t629 * t6930) - t6931), (0 : α), ((t629 * t6931) - t6930), (t626 * t630), ((t629 * t6932) + t6929), (0 : α), (0 : α), (0 : α), (0 : α), (1 : α)⟩
 
 /-- extracted from the C++ template at T = Sym; 1 path(s) -/
 def Euler.toQuat_ZXYr {α : Type} [Add α] [Sub α] [Mul α] [Div α] [Neg α] [OfNat α 1] [OfNat α 2] (sin : α → α) (cos : α → α) (a : V3 α) : (Quat α) :=
@@ -6338,14 +5170,14 @@ def Euler.toQuat_ZXYr {α : Type} [Add α] [Sub α] [Mul α] [Div α] [Neg α] [
   let t34 := (cos t31)
   let t35 := (sin t29)
   let t37 := (sin t31)
-  let t654 := ((-a.y) * ((1 : α) / (2 : α)))
-  let t655 := (cos t654)
-  let t656 := (sin t654)
-  let t6987 := (t34 * t32)
-  let t6988 := (t34 * t35)
-  let t6989 := (t37 * t32)
-  let t6990 := (t37 * t35)
-  ⟨((t655 * t6987) + (t656 * t6990)), ⟨((t655 * t6989) - (t656 * t6988)), ((t655 * t6988) - (t656 * t6989)), (((t655 * t6990) + (t656 * t6987)) * (-(1 : α)))⟩⟩
+  let t649 := ((-a.y) * ((1 : α) / (2 : α)))
+  let t650 := (cos t649)
+  let t651 := (sin t649)
+  let t6941 := (t34 * t32)
+  let t6942 := (t34 * t35)
+  let t6943 := (t37 * t32)
+  let t6944 := (t37 * t35)
+  ⟨((t650 * t6941) + (t651 * t6944)), ⟨((t650 * t6943) - (t651 * t6942)), ((t650 * t6942) - (t651 * t6943)), (((t650 * t6944) + (t651 * t6941)) * (-(1 : α)))⟩⟩
 
 /-- extracted from the C++ template at T = Sym; 1 path(s) -/
 def Euler.extractM33_ZXYr {α : Type} [Add α] [Mul α] [Neg α] [OfNat α 0] [OfNat α 1] (sqrt : α → α) (sin : α → α) (cos : α → α) (atan2 : α → α → α) (m : M33 α) : (V3 α) :=
@@ -6364,21 +5196,7 @@ def Euler.extractM33_ZXYr {α : Type} [Add α] [Mul α] [Neg α] [OfNat α 0] [O
   let t128 := ((t99 + t89) * (0 : α))
   let t134 := ((((t93 * m.x00) + (t97 * m.x10)) + (t100 * m.x20)) + t128)
   let t146 := ((((t93 * m.x02) + (t97 * m.x12)) + (t100 * m.x22)) + t128)
-  let t670 := (atan2 m.x21 m.x11)
-  let t671 := (cos t670)
-  let t677 := (t66 * t671)
-  let t681 := (-(sin t670))
-  let t683 := ((t72 * t681) + ((t66 * t68) * t671))
-  let t686 := ((t66 * t681) + ((t68 * t68) * t671))
-  let t700 := ((0 : α) * t677)
-  let t701 := ((0 : α) * t686)
-  let t704 := ((((1 : α) * t683) + t701) + t700)
-  let t706 := ((0 : α) * t683)
-  let t708 := ((t706 + ((1 : α) * t686)) + t700)
-  let t710 := (t706 + t701)
-  let t711 := (t710 + ((1 : α) * t677))
-  let t739 := ((t710 + t700) * (0 : α))
-  ⟨((atan2 (-((((t704 * m.x00) + (t708 * m.x10)) + (t711 * m.x20)) + t739)) ((((t704 * m.x02) + (t708 * m.x12)) + (t711 * m.x22)) + t739)) * (-(1 : α))), ((atan2 (-((((t93 * m.x01) + (t97 * m.x11)) + (t100 * m.x21)) + t128)) (sqrt ((t134 * t134) + (t146 * t146)))) * (-(1 : α))), (t670 * (-(1 : α)))⟩
+  ⟨((atan2 m.x02 m.x00) * (-(1 : α))), ((atan2 (-((((t93 * m.x01) + (t97 * m.x11)) + (t100 * m.x21)) + t128)) (sqrt ((t134 * t134) + (t146 * t146)))) * (-(1 : α))), ((atan2 m.x21 m.x11) * (-(1 : α)))⟩
 
 /-- extracted from the C++ template at T = Sym; 1 path(s) -/
 def Euler.extractM44_ZXYr {α : Type} [Add α] [Mul α] [Neg α] [OfNat α 0] [OfNat α 1] (sqrt : α → α) (sin : α → α) (cos : α → α) (atan2 : α → α → α) (m : M44 α) : (V3 α) :=
@@ -6395,23 +5213,9 @@ def Euler.extractM44_ZXYr {α : Type} [Add α] [Mul α] [Neg α] [OfNat α 0] [O
   let t99 := (t95 + t90)
   let t100 := (t99 + ((1 : α) * t72))
   let t101 := (t99 + t89)
-  let t246 := ((((t93 * m.x00) + (t97 * m.x10)) + (t100 * m.x20)) + (t101 * m.x30))
-  let t250 := ((((t93 * m.x02) + (t97 * m.x12)) + (t100 * m.x22)) + (t101 * m.x32))
-  let t670 := (atan2 m.x21 m.x11)
-  let t671 := (cos t670)
-  let t677 := (t66 * t671)
-  let t681 := (-(sin t670))
-  let t683 := ((t72 * t681) + ((t66 * t68) * t671))
-  let t686 := ((t66 * t681) + ((t68 * t68) * t671))
-  let t700 := ((0 : α) * t677)
-  let t701 := ((0 : α) * t686)
-  let t704 := ((((1 : α) * t683) + t701) + t700)
-  let t706 := ((0 : α) * t683)
-  let t708 := ((t706 + ((1 : α) * t686)) + t700)
-  let t710 := (t706 + t701)
-  let t711 := (t710 + ((1 : α) * t677))
-  let t712 := (t710 + t700)
-  ⟨((atan2 (-((((t704 * m.x00) + (t708 * m.x10)) + (t711 * m.x20)) + (t712 * m.x30))) ((((t704 * m.x02) + (t708 * m.x12)) + (t711 * m.x22)) + (t712 * m.x32))) * (-(1 : α))), ((atan2 (-((((t93 * m.x01) + (t97 * m.x11)) + (t100 * m.x21)) + (t101 * m.x31))) (sqrt ((t246 * t246) + (t250 * t250)))) * (-(1 : α))), (t670 * (-(1 : α)))⟩
+  let t245 := ((((t93 * m.x00) + (t97 * m.x10)) + (t100 * m.x20)) + (t101 * m.x30))
+  let t249 := ((((t93 * m.x02) + (t97 * m.x12)) + (t100 * m.x22)) + (t101 * m.x32))
+  ⟨((atan2 m.x02 m.x00) * (-(1 : α))), ((atan2 (-((((t93 * m.x01) + (t97 * m.x11)) + (t100 * m.x21)) + (t101 * m.x31))) (sqrt ((t245 * t245) + (t249 * t249)))) * (-(1 : α))), ((atan2 m.x21 m.x11) * (-(1 : α)))⟩
 
 /-- extracted from the C++ template at T = Sym; 1 path(s) -/
 def Euler.ctorM33_ZXYr {α : Type} [Add α] [Mul α] [Neg α] [OfNat α 0] [OfNat α 1] (sqrt : α → α) (sin : α → α) (cos : α → α) (atan2 : α → α → α) (m : M33 α) : ((V3 α) × Int) :=
@@ -6430,21 +5234,7 @@ def Euler.ctorM33_ZXYr {α : Type} [Add α] [Mul α] [Neg α] [OfNat α 0] [OfNa
   let t128 := ((t99 + t89) * (0 : α))
   let t134 := ((((t93 * m.x00) + (t97 * m.x10)) + (t100 * m.x20)) + t128)
   let t146 := ((((t93 * m.x02) + (t97 * m.x12)) + (t100 * m.x22)) + t128)
-  let t670 := (atan2 m.x21 m.x11)
-  let t671 := (cos t670)
-  let t677 := (t66 * t671)
-  let t681 := (-(sin t670))
-  let t683 := ((t72 * t681) + ((t66 * t68) * t671))
-  let t686 := ((t66 * t681) + ((t68 * t68) * t671))
-  let t700 := ((0 : α) * t677)
-  let t701 := ((0 : α) * t686)
-  let t704 := ((((1 : α) * t683) + t701) + t700)
-  let t706 := ((0 : α) * t683)
-  let t708 := ((t706 + ((1 : α) * t686)) + t700)
-  let t710 := (t706 + t701)
-  let t711 := (t710 + ((1 : α) * t677))
-  let t739 := ((t710 + t700) * (0 : α))
-  (⟨((atan2 (-((((t704 * m.x00) + (t708 * m.x10)) + (t711 * m.x20)) + t739)) ((((t704 * m.x02) + (t708 * m.x12)) + (t711 * m.x22)) + t739)) * (-(1 : α))), ((atan2 (-((((t93 * m.x01) + (t97 * m.x11)) + (t100 * m.x21)) + t128)) (sqrt ((t134 * t134) + (t146 * t146)))) * (-(1 : α))), (t670 * (-(1 : α)))⟩, (0 : Int))
+  (⟨((atan2 m.x02 m.x00) * (-(1 : α))), ((atan2 (-((((t93 * m.x01) + (t97 * m.x11)) + (t100 * m.x21)) + t128)) (sqrt ((t134 * t134) + (t146 * t146)))) * (-(1 : α))), ((atan2 m.x21 m.x11) * (-(1 : α)))⟩, (0 : Int))
 
 /-- extracted from the C++ template at T = Sym; 1 path(s) -/
 def Euler.ctorM44_ZXYr {α : Type} [Add α] [Mul α] [Neg α] [OfNat α 0] [OfNat α 1] (sqrt : α → α) (sin : α → α) (cos : α → α) (atan2 : α → α → α) (m : M44 α) : ((V3 α) × Int) :=
@@ -6461,23 +5251,9 @@ def Euler.ctorM44_ZXYr {α : Type} [Add α] [Mul α] [Neg α] [OfNat α 0] [OfNa
   let t99 := (t95 + t90)
   let t100 := (t99 + ((1 : α) * t72))
   let t101 := (t99 + t89)
-  let t246 := ((((t93 * m.x00) + (t97 * m.x10)) + (t100 * m.x20)) + (t101 * m.x30))
-  let t250 := ((((t93 * m.x02) + (t97 * m.x12)) + (t100 * m.x22)) + (t101 * m.x32))
-  let t670 := (atan2 m.x21 m.x11)
-  let t671 := (cos t670)
-  let t677 := (t66 * t671)
-  let t681 := (-(sin t670))
-  let t683 := ((t72 * t681) + ((t66 * t68) * t671))
-  let t686 := ((t66 * t681) + ((t68 * t68) * t671))
-  let t700 := ((0 : α) * t677)
-  let t701 := ((0 : α) * t686)
-  let t704 := ((((1 : α) * t683) + t701) + t700)
-  let t706 := ((0 : α) * t683)
-  let t708 := ((t706 + ((1 : α) * t686)) + t700)
-  let t710 := (t706 + t701)
-  let t711 := (t710 + ((1 : α) * t677))
-  let t712 := (t710 + t700)
-  (⟨((atan2 (-((((t704 * m.x00) + (t708 * m.x10)) + (t711 * m.x20)) + (t712 * m.x30))) ((((t704 * m.x02) + (t708 * m.x12)) + (t711 * m.x22)) + (t712 * m.x32))) * (-(1 : α))), ((atan2 (-((((t93 * m.x01) + (t97 * m.x11)) + (t100 * m.x21)) + (t101 * m.x31))) (sqrt ((t246 * t246) + (t250 * t250)))) * (-(1 : α))), (t670 * (-(1 : α)))⟩, (0 : Int))
+  let t245 := ((((t93 * m.x00) + (t97 * m.x10)) + (t100 * m.x20)) + (t101 * m.x30))
+  let t249 := ((((t93 * m.x02) + (t97 * m.x12)) + (t100 * m.x22)) + (t101 * m.x32))
+  (⟨((atan2 m.x02 m.x00) * (-(1 : α))), ((atan2 (-((((t93 * m.x01) + (t97 * m.x11)) + (t100 * m.x21)) + (t101 * m.x31))) (sqrt ((t245 * t245) + (t249 * t249)))) * (-(1 : α))), ((atan2 m.x21 m.x11) * (-(1 : α)))⟩, (0 : Int))
 
 /-- extracted from the C++ template at T = Sym; 1 path(s) -/
 def Euler.extractQuat_ZXYr {α : Type} [Add α] [Sub α] [Mul α] [Neg α] [OfNat α 0] [OfNat α 1] [OfNat α 2] (sqrt : α → α) (sin : α → α) (cos : α → α) (atan2 : α → α → α) (q : Quat α) : (V3 α) :=
@@ -6494,40 +5270,22 @@ def Euler.extractQuat_ZXYr {α : Type} [Add α] [Sub α] [Mul α] [Neg α] [OfNa
   let t99 := (t95 + t90)
   let t100 := (t99 + ((1 : α) * t72))
   let t128 := ((t99 + t89) * (0 : α))
-  let t309 := (q.v.x * q.v.x)
-  let t310 := (q.v.y * q.v.y)
-  let t314 := ((1 : α) - ((2 : α) * (t310 + t309)))
-  let t315 := (q.v.x * q.r)
-  let t316 := (q.v.y * q.v.z)
-  let t318 := ((2 : α) * (t316 - t315))
-  let t319 := (q.v.y * q.r)
-  let t320 := (q.v.z * q.v.x)
-  let t322 := ((2 : α) * (t320 + t319))
-  let t324 := ((2 : α) * (t316 + t315))
-  let t325 := (q.v.z * q.v.z)
-  let t328 := ((1 : α) - ((2 : α) * (t325 + t309)))
-  let t329 := (q.v.z * q.r)
-  let t330 := (q.v.x * q.v.y)
-  let t332 := ((2 : α) * (t330 - t329))
-  let t334 := ((2 : α) * (t320 - t319))
-  let t339 := ((1 : α) - ((2 : α) * (t310 + t325)))
-  let t389 := ((((t93 * t339) + (t97 * t332)) + (t100 * t322)) + t128)
-  let t401 := ((((t93 * t334) + (t97 * t324)) + (t100 * t314)) + t128)
-  let t810 := (atan2 t318 t328)
-  let t811 := (cos t810)
-  let t817 := (t66 * t811)
-  let t821 := (-(sin t810))
-  let t823 := ((t72 * t821) + ((t66 * t68) * t811))
-  let t826 := ((t66 * t821) + ((t68 * t68) * t811))
-  let t840 := ((0 : α) * t817)
-  let t841 := ((0 : α) * t826)
-  let t844 := ((((1 : α) * t823) + t841) + t840)
-  let t846 := ((0 : α) * t823)
-  let t848 := ((t846 + ((1 : α) * t826)) + t840)
-  let t850 := (t846 + t841)
-  let t851 := (t850 + ((1 : α) * t817))
-  let t879 := ((t850 + t840) * (0 : α))
-  ⟨((atan2 (-((((t844 * t339) + (t848 * t332)) + (t851 * t322)) + t879)) ((((t844 * t334) + (t848 * t324)) + (t851 * t314)) + t879)) * (-(1 : α))), ((atan2 (-((((t93 * ((2 : α) * (t330 + t329))) + (t97 * t328)) + (t100 * t318)) + t128)) (sqrt ((t389 * t389) + (t401 * t401)))) * (-(1 : α))), (t810 * (-(1 : α)))⟩
+  let t306 := (q.v.x * q.v.x)
+  let t307 := (q.v.y * q.v.y)
+  let t312 := (q.v.x * q.r)
+  let t313 := (q.v.y * q.v.z)
+  let t315 := ((2 : α) * (t313 - t312))
+  let t316 := (q.v.y * q.r)
+  let t317 := (q.v.z * q.v.x)
+  let t322 := (q.v.z * q.v.z)
+  let t325 := ((1 : α) - ((2 : α) * (t322 + t306)))
+  let t326 := (q.v.z * q.r)
+  let t327 := (q.v.x * q.v.y)
+  let t331 := ((2 : α) * (t317 - t316))
+  let t336 := ((1 : α) - ((2 : α) * (t307 + t322)))
+  let t386 := ((((t93 * t336) + (t97 * ((2 : α) * (t327 - t326)))) + (t100 * ((2 : α) * (t317 + t316)))) + t128)
+  let t398 := ((((t93 * t331) + (t97 * ((2 : α) * (t313 + t312)))) + (t100 * ((1 : α) - ((2 : α) * (t307 + t306))))) + t128)
+  ⟨((atan2 t331 t336) * (-(1 : α))), ((atan2 (-((((t93 * ((2 : α) * (t327 + t326))) + (t97 * t325)) + (t100 * t315)) + t128)) (sqrt ((t386 * t386) + (t398 * t398)))) * (-(1 : α))), ((atan2 t315 t325) * (-(1 : α)))⟩
 
 /-- extracted from the C++ template at T = Sym; 1 path(s) -/
 def Euler.ctorXYZLayout_ZXYr {α : Type} (v : V3 α) : ((V3 α) × Int) :=
@@ -6582,13 +5340,9 @@ def Euler.reorderFromXYZ_ZXYr {α : Type} [Add α] [Sub α] [Mul α] [Neg α] [O
   let t12 := (t7 * t6)
   let t13 := (t7 * t9)
   let t15 := (t5 * t6)
-  let t17 := ((t8 * t12) - t11)
-  let t19 := ((t8 * t10) + t13)
   let t22 := ((t8 * t13) + t10)
   let t24 := ((t8 * t11) - t12)
   let t25 := (-t8)
-  let t26 := (t5 * t7)
-  let t27 := (t5 * t4)
   let t66 := (cos (0 : α))
   let t68 := (sin (0 : α))
   let t70 := (t66 * t66)
@@ -6602,23 +5356,9 @@ def Euler.reorderFromXYZ_ZXYr {α : Type} [Add α] [Sub α] [Mul α] [Neg α] [O
   let t99 := (t95 + t90)
   let t100 := (t99 + ((1 : α) * t72))
   let t128 := ((t99 + t89) * (0 : α))
-  let t535 := ((((t93 * t15) + (t97 * t17)) + (t100 * t19)) + t128)
-  let t547 := ((((t93 * t25) + (t97 * t26)) + (t100 * t27)) + t128)
-  let t915 := (atan2 t24 t22)
-  let t916 := (cos t915)
-  let t922 := (t66 * t916)
-  let t926 := (-(sin t915))
-  let t928 := ((t72 * t926) + ((t66 * t68) * t916))
-  let t931 := ((t66 * t926) + ((t68 * t68) * t916))
-  let t945 := ((0 : α) * t922)
-  let t946 := ((0 : α) * t931)
-  let t949 := ((((1 : α) * t928) + t946) + t945)
-  let t951 := ((0 : α) * t928)
-  let t953 := ((t951 + ((1 : α) * t931)) + t945)
-  let t955 := (t951 + t946)
-  let t956 := (t955 + ((1 : α) * t922))
-  let t984 := ((t955 + t945) * (0 : α))
-  (⟨((atan2 (-((((t949 * t15) + (t953 * t17)) + (t956 * t19)) + t984)) ((((t949 * t25) + (t953 * t26)) + (t956 * t27)) + t984)) * (-(1 : α))), ((atan2 (-((((t93 * (t5 * t9)) + (t97 * t22)) + (t100 * t24)) + t128)) (sqrt ((t535 * t535) + (t547 * t547)))) * (-(1 : α))), (t915 * (-(1 : α)))⟩, (0 : Int))
+  let t531 := ((((t93 * t15) + (t97 * ((t8 * t12) - t11))) + (t100 * ((t8 * t10) + t13))) + t128)
+  let t543 := ((((t93 * t25) + (t97 * (t5 * t7))) + (t100 * (t5 * t4))) + t128)
+  (⟨((atan2 t25 t15) * (-(1 : α))), ((atan2 (-((((t93 * (t5 * t9)) + (t97 * t22)) + (t100 * t24)) + t128)) (sqrt ((t531 * t531) + (t543 * t543)))) * (-(1 : α))), ((atan2 t24 t22) * (-(1 : α)))⟩, (0 : Int))
 
 /-- extracted from the C++ template at T = Sym; 1 path(s) -/
 def Euler.reorderToZYXr_ZXYr {α : Type} [Add α] [Sub α] [Mul α] [Neg α] [OfNat α 0] [OfNat α 1] (sqrt : α → α) (sin : α → α) (cos : α → α) (atan2 : α → α → α) (a : V3 α) : ((V3 α) × Int) :=
@@ -6635,45 +5375,26 @@ def Euler.reorderToZYXr_ZXYr {α : Type} [Add α] [Sub α] [Mul α] [Neg α] [Of
   let t99 := (t95 + t90)
   let t100 := (t99 + ((1 : α) * t72))
   let t128 := ((t99 + t89) * (0 : α))
-  let t627 := (a.x * (-(1 : α)))
-  let t628 := (a.y * (-(1 : α)))
-  let t629 := (a.z * (-(1 : α)))
-  let t630 := (cos t627)
-  let t631 := (cos t628)
-  let t632 := (cos t629)
-  let t633 := (sin t627)
-  let t634 := (sin t628)
-  let t635 := (sin t629)
-  let t640 := (t631 * t632)
-  let t645 := (t631 * t635)
-  let t650 := (-t634)
-  let t652 := (t631 * t630)
-  let t6975 := (t632 * t630)
-  let t6976 := (t632 * t633)
-  let t6977 := (t635 * t630)
-  let t6978 := (t635 * t633)
-  let t6980 := ((t634 * t6977) - t6976)
-  let t6982 := ((t634 * t6975) + t6978)
-  let t6984 := ((t634 * t6978) + t6975)
-  let t6986 := ((t634 * t6976) - t6977)
-  let t7541 := (atan2 t6986 t6984)
-  let t7542 := (-t7541)
-  let t7543 := (cos t7542)
-  let t7544 := (sin t7542)
-  let t7547 := ((t72 * t7543) + ((t66 * t68) * t7544))
-  let t7550 := ((t66 * t7543) + ((t68 * t68) * t7544))
-  let t7551 := (t66 * t7544)
-  let t7559 := ((0 : α) * t7551)
-  let t7560 := ((0 : α) * t7550)
-  let t7563 := ((((1 : α) * t7547) + t7560) + t7559)
-  let t7565 := ((0 : α) * t7547)
-  let t7567 := ((t7565 + ((1 : α) * t7550)) + t7559)
-  let t7569 := (t7565 + t7560)
-  let t7570 := (t7569 + ((1 : α) * t7551))
-  let t7589 := ((((t93 * t652) + (t97 * t6982)) + (t100 * t6980)) + t128)
-  let t7592 := ((((t93 * t650) + (t97 * t640)) + (t100 * t645)) + t128)
-  let t7598 := ((t7569 + t7559) * (0 : α))
-  (⟨(atan2 (-((((t7563 * t652) + (t7567 * t6982)) + (t7570 * t6980)) + t7598)) ((((t7563 * t650) + (t7567 * t640)) + (t7570 * t645)) + t7598)), (atan2 (-((((t93 * (t631 * t633)) + (t97 * t6986)) + (t100 * t6984)) + t128)) (sqrt ((t7589 * t7589) + (t7592 * t7592)))), t7541⟩, (256 : Int))
+  let t622 := (a.x * (-(1 : α)))
+  let t623 := (a.y * (-(1 : α)))
+  let t624 := (a.z * (-(1 : α)))
+  let t625 := (cos t622)
+  let t626 := (cos t623)
+  let t627 := (cos t624)
+  let t628 := (sin t622)
+  let t629 := (sin t623)
+  let t630 := (sin t624)
+  let t645 := (-t629)
+  let t647 := (t626 * t625)
+  let t6929 := (t627 * t625)
+  let t6930 := (t627 * t628)
+  let t6931 := (t630 * t625)
+  let t6932 := (t630 * t628)
+  let t6938 := ((t629 * t6932) + t6929)
+  let t6940 := ((t629 * t6930) - t6931)
+  let t7538 := ((((t93 * t647) + (t97 * ((t629 * t6929) + t6932))) + (t100 * ((t629 * t6931) - t6930))) + t128)
+  let t7541 := ((((t93 * t645) + (t97 * (t626 * t627))) + (t100 * (t626 * t630))) + t128)
+  (⟨(atan2 t645 t647), (atan2 (-((((t93 * (t626 * t628)) + (t97 * t6940)) + (t100 * t6938)) + t128)) (sqrt ((t7538 * t7538) + (t7541 * t7541)))), (atan2 t6940 t6938)⟩, (256 : Int))
 
 /-- extracted from the C++ template at T = Sym; 1 path(s) -/
 def Euler.toMatrix33_ZYXr {α : Type} [Add α] [Sub α] [Mul α] [Neg α] (sin : α → α) (cos : α → α) (a : V3 α) : (M33 α) :=
@@ -6683,11 +5404,11 @@ def Euler.toMatrix33_ZYXr {α : Type} [Add α] [Sub α] [Mul α] [Neg α] (sin :
   let t7 := (sin a.x)
   let t8 := (sin a.y)
   let t9 := (sin a.z)
-  let t7134 := (t6 * t4)
-  let t7135 := (t6 * t7)
-  let t7136 := (t9 * t4)
-  let t7137 := (t9 * t7)
-  ⟨(t5 * t4), (t5 * t7), (-t8), ((t8 * t7136) - t7135), ((t8 * t7137) + t7134), (t5 * t9), ((t8 * t7134) + t7137), ((t8 * t7135) - t7136), (t5 * t6)⟩
+  let t7087 := (t6 * t4)
+  let t7088 := (t6 * t7)
+  let t7089 := (t9 * t4)
+  let t7090 := (t9 * t7)
+  ⟨(t5 * t4), (t5 * t7), (-t8), ((t8 * t7089) - t7088), ((t8 * t7090) + t7087), (t5 * t9), ((t8 * t7087) + t7090), ((t8 * t7088) - t7089), (t5 * t6)⟩
 
 /-- extracted from the C++ template at T = Sym; 1 path(s) -/
 def Euler.toMatrix44_ZYXr {α : Type} [Add α] [Sub α] [Mul α] [Neg α] [OfNat α 0] [OfNat α 1] (sin : α → α) (cos : α → α) (a : V3 α) : (M44 α) :=
@@ -6697,11 +5418,11 @@ def Euler.toMatrix44_ZYXr {α : Type} [Add α] [Sub α] [Mul α] [Neg α] [OfNat
   let t7 := (sin a.x)
   let t8 := (sin a.y)
   let t9 := (sin a.z)
-  let t7134 := (t6 * t4)
-  let t7135 := (t6 * t7)
-  let t7136 := (t9 * t4)
-  let t7137 := (t9 * t7)
-  ⟨(t5 * t4), (t5 * t7), (-t8), (0 : α), ((t8 * t7136) - t7135), ((t8 * t7137) + t7134), (t5 * t9), (0 : α), ((t8 * t7134) + t7137), ((t8 * t7135) - t7136), (t5 * t6), (0 : α), (0 : α), (0 : α), (0 : α), (1 : α)⟩
+  let t7087 := (t6 * t4)
+  let t7088 := (t6 * t7)
+  let t7089 := (t9 * t4)
+  let t7090 := (t9 * t7)
+  ⟨(t5 * t4), (t5 * t7), (-t8), (0 : α), ((t8 * t7089) - t7088), ((t8 * t7090) + t7087), (t5 * t9), (0 : α), ((t8 * t7087) + t7090), ((t8 * t7088) - t7089), (t5 * t6), (0 : α), (0 : α), (0 : α), (0 : α), (1 : α)⟩
 
 /-- extracted from the C++ template at T = Sym; 1 path(s) -/
 def Euler.toQuat_ZYXr {α : Type} [Add α] [Sub α] [Mul α] [Div α] [OfNat α 1] [OfNat α 2] (sin : α → α) (cos : α → α) (a : V3 α) : (Quat α) :=
@@ -6714,26 +5435,19 @@ def Euler.toQuat_ZYXr {α : Type} [Add α] [Sub α] [Mul α] [Div α] [OfNat α 
   let t35 := (sin t29)
   let t36 := (sin t30)
   let t37 := (sin t31)
-  let t6987 := (t34 * t32)
-  let t6988 := (t34 * t35)
-  let t6989 := (t37 * t32)
-  let t6990 := (t37 * t35)
-  ⟨((t33 * t6987) + (t36 * t6990)), ⟨((t33 * t6989) - (t36 * t6988)), (((t33 * t6990) + (t36 * t6987)) * (1 : α)), ((t33 * t6988) - (t36 * t6989))⟩⟩
+  let t6941 := (t34 * t32)
+  let t6942 := (t34 * t35)
+  let t6943 := (t37 * t32)
+  let t6944 := (t37 * t35)
+  ⟨((t33 * t6941) + (t36 * t6944)), ⟨((t33 * t6943) - (t36 * t6942)), (((t33 * t6944) + (t36 * t6941)) * (1 : α)), ((t33 * t6942) - (t36 * t6943))⟩⟩
 
 /-- extracted from the C++ template at T = Sym; 1 path(s) -/
 def Euler.extractM33_ZYXr {α : Type} [Add α] [Mul α] [Neg α] [OfNat α 0] [OfNat α 1] (sqrt : α → α) (sin : α → α) (cos : α → α) (atan2 : α → α → α) (m : M33 α) : (V3 α) :=
-  let t64 := (atan2 m.x12 m.x22)
-  let t65 := (-t64)
   let t66 := (cos (0 : α))
-  let t67 := (cos t65)
   let t68 := (sin (0 : α))
-  let t69 := (sin t65)
   let t70 := (t66 * t66)
   let t71 := (t68 * t66)
   let t72 := (-t68)
-  let t76 := ((t72 * t67) + ((t66 * t68) * t69))
-  let t80 := ((t66 * t67) + ((t68 * t68) * t69))
-  let t81 := (t66 * t69)
   let t89 := ((0 : α) * t72)
   let t90 := ((0 : α) * t71)
   let t93 := ((((1 : α) * t70) + t90) + t89)
@@ -6741,33 +5455,18 @@ def Euler.extractM33_ZYXr {α : Type} [Add α] [Mul α] [Neg α] [OfNat α 0] [O
   let t97 := ((t95 + ((1 : α) * t71)) + t89)
   let t99 := (t95 + t90)
   let t100 := (t99 + ((1 : α) * t72))
-  let t102 := ((0 : α) * t81)
-  let t103 := ((0 : α) * t80)
-  let t106 := ((((1 : α) * t76) + t103) + t102)
-  let t108 := ((0 : α) * t76)
-  let t110 := ((t108 + ((1 : α) * t80)) + t102)
-  let t112 := (t108 + t103)
-  let t113 := (t112 + ((1 : α) * t81))
   let t128 := ((t99 + t89) * (0 : α))
   let t134 := ((((t93 * m.x00) + (t97 * m.x10)) + (t100 * m.x20)) + t128)
   let t140 := ((((t93 * m.x01) + (t97 * m.x11)) + (t100 * m.x21)) + t128)
-  let t154 := ((t112 + t102) * (0 : α))
-  ⟨(atan2 (-((((t106 * m.x00) + (t110 * m.x10)) + (t113 * m.x20)) + t154)) ((((t106 * m.x01) + (t110 * m.x11)) + (t113 * m.x21)) + t154)), (atan2 (-((((t93 * m.x02) + (t97 * m.x12)) + (t100 * m.x22)) + t128)) (sqrt ((t134 * t134) + (t140 * t140)))), t64⟩
+  ⟨(atan2 m.x01 m.x00), (atan2 (-((((t93 * m.x02) + (t97 * m.x12)) + (t100 * m.x22)) + t128)) (sqrt ((t134 * t134) + (t140 * t140)))), (atan2 m.x12 m.x22)⟩
 
 /-- extracted from the C++ template at T = Sym; 1 path(s) -/
 def Euler.extractM44_ZYXr {α : Type} [Add α] [Mul α] [Neg α] [OfNat α 0] [OfNat α 1] (sqrt : α → α) (sin : α → α) (cos : α → α) (atan2 : α → α → α) (m : M44 α) : (V3 α) :=
-  let t64 := (atan2 m.x12 m.x22)
-  let t65 := (-t64)
   let t66 := (cos (0 : α))
-  let t67 := (cos t65)
   let t68 := (sin (0 : α))
-  let t69 := (sin t65)
   let t70 := (t66 * t66)
   let t71 := (t68 * t66)
   let t72 := (-t68)
-  let t76 := ((t72 * t67) + ((t66 * t68) * t69))
-  let t80 := ((t66 * t67) + ((t68 * t68) * t69))
-  let t81 := (t66 * t69)
   let t89 := ((0 : α) * t72)
   let t90 := ((0 : α) * t71)
   let t93 := ((((1 : α) * t70) + t90) + t89)
@@ -6776,32 +5475,17 @@ def Euler.extractM44_ZYXr {α : Type} [Add α] [Mul α] [Neg α] [OfNat α 0] [O
   let t99 := (t95 + t90)
   let t100 := (t99 + ((1 : α) * t72))
   let t101 := (t99 + t89)
-  let t102 := ((0 : α) * t81)
-  let t103 := ((0 : α) * t80)
-  let t106 := ((((1 : α) * t76) + t103) + t102)
-  let t108 := ((0 : α) * t76)
-  let t110 := ((t108 + ((1 : α) * t80)) + t102)
-  let t112 := (t108 + t103)
-  let t113 := (t112 + ((1 : α) * t81))
-  let t114 := (t112 + t102)
-  let t246 := ((((t93 * m.x00) + (t97 * m.x10)) + (t100 * m.x20)) + (t101 * m.x30))
-  let t248 := ((((t93 * m.x01) + (t97 * m.x11)) + (t100 * m.x21)) + (t101 * m.x31))
-  ⟨(atan2 (-((((t106 * m.x00) + (t110 * m.x10)) + (t113 * m.x20)) + (t114 * m.x30))) ((((t106 * m.x01) + (t110 * m.x11)) + (t113 * m.x21)) + (t114 * m.x31))), (atan2 (-((((t93 * m.x02) + (t97 * m.x12)) + (t100 * m.x22)) + (t101 * m.x32))) (sqrt ((t246 * t246) + (t248 * t248)))), t64⟩
+  let t245 := ((((t93 * m.x00) + (t97 * m.x10)) + (t100 * m.x20)) + (t101 * m.x30))
+  let t247 := ((((t93 * m.x01) + (t97 * m.x11)) + (t100 * m.x21)) + (t101 * m.x31))
+  ⟨(atan2 m.x01 m.x00), (atan2 (-((((t93 * m.x02) + (t97 * m.x12)) + (t100 * m.x22)) + (t101 * m.x32))) (sqrt ((t245 * t245) + (t247 * t247)))), (atan2 m.x12 m.x22)⟩
 
 /-- extracted from the C++ template at T = Sym; 1 path(s) -/
 def Euler.ctorM33_ZYXr {α : Type} [Add α] [Mul α] [Neg α] [OfNat α 0] [OfNat α 1] (sqrt : α → α) (sin : α → α) (cos : α → α) (atan2 : α → α → α) (m : M33 α) : ((V3 α) × Int) :=
-  let t64 := (atan2 m.x12 m.x22)
-  let t65 := (-t64)
   let t66 := (cos (0 : α))
-  let t67 := (cos t65)
   let t68 := (sin (0 : α))
-  let t69 := (sin t65)
   let t70 := (t66 * t66)
   let t71 := (t68 * t66)
   let t72 := (-t68)
-  let t76 := ((t72 * t67) + ((t66 * t68) * t69))
-  let t80 := ((t66 * t67) + ((t68 * t68) * t69))
-  let t81 := (t66 * t69)
   let t89 := ((0 : α) * t72)
   let t90 := ((0 : α) * t71)
   let t93 := ((((1 : α) * t70) + t90) + t89)
@@ -6809,33 +5493,18 @@ def Euler.ctorM33_ZYXr {α : Type} [Add α] [Mul α] [Neg α] [OfNat α 0] [OfNa
   let t97 := ((t95 + ((1 : α) * t71)) + t89)
   let t99 := (t95 + t90)
   let t100 := (t99 + ((1 : α) * t72))
-  let t102 := ((0 : α) * t81)
-  let t103 := ((0 : α) * t80)
-  let t106 := ((((1 : α) * t76) + t103) + t102)
-  let t108 := ((0 : α) * t76)
-  let t110 := ((t108 + ((1 : α) * t80)) + t102)
-  let t112 := (t108 + t103)
-  let t113 := (t112 + ((1 : α) * t81))
   let t128 := ((t99 + t89) * (0 : α))
   let t134 := ((((t93 * m.x00) + (t97 * m.x10)) + (t100 * m.x20)) + t128)
   let t140 := ((((t93 * m.x01) + (t97 * m.x11)) + (t100 * m.x21)) + t128)
-  let t154 := ((t112 + t102) * (0 : α))
-  (⟨(atan2 (-((((t106 * m.x00) + (t110 * m.x10)) + (t113 * m.x20)) + t154)) ((((t106 * m.x01) + (t110 * m.x11)) + (t113 * m.x21)) + t154)), (atan2 (-((((t93 * m.x02) + (t97 * m.x12)) + (t100 * m.x22)) + t128)) (sqrt ((t134 * t134) + (t140 * t140)))), t64⟩, (256 : Int))
+  (⟨(atan2 m.x01 m.x00), (atan2 (-((((t93 * m.x02) + (t97 * m.x12)) + (t100 * m.x22)) + t128)) (sqrt ((t134 * t134) + (t140 * t140)))), (atan2 m.x12 m.x22)⟩, (256 : Int))
 
 /-- extracted from the C++ template at T = Sym; 1 path(s) -/
 def Euler.ctorM44_ZYXr {α : Type} [Add α] [Mul α] [Neg α] [OfNat α 0] [OfNat α 1] (sqrt : α → α) (sin : α → α) (cos : α → α) (atan2 : α → α → α) (m : M44 α) : ((V3 α) × Int) :=
-  let t64 := (atan2 m.x12 m.x22)
-  let t65 := (-t64)
   let t66 := (cos (0 : α))
-  let t67 := (cos t65)
   let t68 := (sin (0 : α))
-  let t69 := (sin t65)
   let t70 := (t66 * t66)
   let t71 := (t68 * t66)
   let t72 := (-t68)
-  let t76 := ((t72 * t67) + ((t66 * t68) * t69))
-  let t80 := ((t66 * t67) + ((t68 * t68) * t69))
-  let t81 := (t66 * t69)
   let t89 := ((0 : α) * t72)
   let t90 := ((0 : α) * t71)
   let t93 := ((((1 : α) * t70) + t90) + t89)
@@ -6844,17 +5513,9 @@ def Euler.ctorM44_ZYXr {α : Type} [Add α] [Mul α] [Neg α] [OfNat α 0] [OfNa
   let t99 := (t95 + t90)
   let t100 := (t99 + ((1 : α) * t72))
   let t101 := (t99 + t89)
-  let t102 := ((0 : α) * t81)
-  let t103 := ((0 : α) * t80)
-  let t106 := ((((1 : α) * t76) + t103) + t102)
-  let t108 := ((0 : α) * t76)
-  let t110 := ((t108 + ((1 : α) * t80)) + t102)
-  let t112 := (t108 + t103)
-  let t113 := (t112 + ((1 : α) * t81))
-  let t114 := (t112 + t102)
-  let t246 := ((((t93 * m.x00) + (t97 * m.x10)) + (t100 * m.x20)) + (t101 * m.x30))
-  let t248 := ((((t93 * m.x01) + (t97 * m.x11)) + (t100 * m.x21)) + (t101 * m.x31))
-  (⟨(atan2 (-((((t106 * m.x00) + (t110 * m.x10)) + (t113 * m.x20)) + (t114 * m.x30))) ((((t106 * m.x01) + (t110 * m.x11)) + (t113 * m.x21)) + (t114 * m.x31))), (atan2 (-((((t93 * m.x02) + (t97 * m.x12)) + (t100 * m.x22)) + (t101 * m.x32))) (sqrt ((t246 * t246) + (t248 * t248)))), t64⟩, (256 : Int))
+  let t245 := ((((t93 * m.x00) + (t97 * m.x10)) + (t100 * m.x20)) + (t101 * m.x30))
+  let t247 := ((((t93 * m.x01) + (t97 * m.x11)) + (t100 * m.x21)) + (t101 * m.x31))
+  (⟨(atan2 m.x01 m.x00), (atan2 (-((((t93 * m.x02) + (t97 * m.x12)) + (t100 * m.x22)) + (t101 * m.x32))) (sqrt ((t245 * t245) + (t247 * t247)))), (atan2 m.x12 m.x22)⟩, (256 : Int))
 
 /-- extracted from the C++ template at T = Sym; 1 path(s) -/
 def Euler.extractQuat_ZYXr {α : Type} [Add α] [Sub α] [Mul α] [Neg α] [OfNat α 0] [OfNat α 1] [OfNat α 2] (sqrt : α → α) (sin : α → α) (cos : α → α) (atan2 : α → α → α) (q : Quat α) : (V3 α) :=
@@ -6871,41 +5532,22 @@ def Euler.extractQuat_ZYXr {α : Type} [Add α] [Sub α] [Mul α] [Neg α] [OfNa
   let t99 := (t95 + t90)
   let t100 := (t99 + ((1 : α) * t72))
   let t128 := ((t99 + t89) * (0 : α))
-  let t309 := (q.v.x * q.v.x)
-  let t310 := (q.v.y * q.v.y)
-  let t314 := ((1 : α) - ((2 : α) * (t310 + t309)))
-  let t315 := (q.v.x * q.r)
-  let t316 := (q.v.y * q.v.z)
-  let t318 := ((2 : α) * (t316 - t315))
-  let t319 := (q.v.y * q.r)
-  let t320 := (q.v.z * q.v.x)
-  let t322 := ((2 : α) * (t320 + t319))
-  let t324 := ((2 : α) * (t316 + t315))
-  let t325 := (q.v.z * q.v.z)
-  let t328 := ((1 : α) - ((2 : α) * (t325 + t309)))
-  let t329 := (q.v.z * q.r)
-  let t330 := (q.v.x * q.v.y)
-  let t332 := ((2 : α) * (t330 - t329))
-  let t336 := ((2 : α) * (t330 + t329))
-  let t339 := ((1 : α) - ((2 : α) * (t310 + t325)))
-  let t340 := (atan2 t324 t314)
-  let t341 := (-t340)
-  let t342 := (cos t341)
-  let t343 := (sin t341)
-  let t346 := ((t72 * t342) + ((t66 * t68) * t343))
-  let t349 := ((t66 * t342) + ((t68 * t68) * t343))
-  let t350 := (t66 * t343)
-  let t358 := ((0 : α) * t350)
-  let t359 := ((0 : α) * t349)
-  let t362 := ((((1 : α) * t346) + t359) + t358)
-  let t364 := ((0 : α) * t346)
-  let t366 := ((t364 + ((1 : α) * t349)) + t358)
-  let t368 := (t364 + t359)
-  let t369 := (t368 + ((1 : α) * t350))
-  let t389 := ((((t93 * t339) + (t97 * t332)) + (t100 * t322)) + t128)
-  let t395 := ((((t93 * t336) + (t97 * t328)) + (t100 * t318)) + t128)
-  let t402 := ((t368 + t358) * (0 : α))
-  ⟨(atan2 (-((((t362 * t339) + (t366 * t332)) + (t369 * t322)) + t402)) ((((t362 * t336) + (t366 * t328)) + (t369 * t318)) + t402)), (atan2 (-((((t93 * ((2 : α) * (t320 - t319))) + (t97 * t324)) + (t100 * t314)) + t128)) (sqrt ((t389 * t389) + (t395 * t395)))), t340⟩
+  let t306 := (q.v.x * q.v.x)
+  let t307 := (q.v.y * q.v.y)
+  let t311 := ((1 : α) - ((2 : α) * (t307 + t306)))
+  let t312 := (q.v.x * q.r)
+  let t313 := (q.v.y * q.v.z)
+  let t316 := (q.v.y * q.r)
+  let t317 := (q.v.z * q.v.x)
+  let t321 := ((2 : α) * (t313 + t312))
+  let t322 := (q.v.z * q.v.z)
+  let t326 := (q.v.z * q.r)
+  let t327 := (q.v.x * q.v.y)
+  let t333 := ((2 : α) * (t327 + t326))
+  let t336 := ((1 : α) - ((2 : α) * (t307 + t322)))
+  let t386 := ((((t93 * t336) + (t97 * ((2 : α) * (t327 - t326)))) + (t100 * ((2 : α) * (t317 + t316)))) + t128)
+  let t392 := ((((t93 * t333) + (t97 * ((1 : α) - ((2 : α) * (t322 + t306))))) + (t100 * ((2 : α) * (t313 - t312)))) + t128)
+  ⟨(atan2 t333 t336), (atan2 (-((((t93 * ((2 : α) * (t317 - t316))) + (t97 * t321)) + (t100 * t311)) + t128)) (sqrt ((t386 * t386) + (t392 * t392)))), (atan2 t321 t311)⟩
 
 /-- extracted from the C++ template at T = Sym; 1 path(s) -/
 def Euler.ctorXYZLayout_ZYXr {α : Type} (v : V3 α) : ((V3 α) × Int) :=
@@ -6960,11 +5602,7 @@ def Euler.reorderFromXYZ_ZYXr {α : Type} [Add α] [Sub α] [Mul α] [Neg α] [O
   let t12 := (t7 * t6)
   let t13 := (t7 * t9)
   let t15 := (t5 * t6)
-  let t17 := ((t8 * t12) - t11)
-  let t19 := ((t8 * t10) + t13)
   let t20 := (t5 * t9)
-  let t22 := ((t8 * t13) + t10)
-  let t24 := ((t8 * t11) - t12)
   let t26 := (t5 * t7)
   let t27 := (t5 * t4)
   let t66 := (cos (0 : α))
@@ -6980,24 +5618,9 @@ def Euler.reorderFromXYZ_ZYXr {α : Type} [Add α] [Sub α] [Mul α] [Neg α] [O
   let t99 := (t95 + t90)
   let t100 := (t99 + ((1 : α) * t72))
   let t128 := ((t99 + t89) * (0 : α))
-  let t486 := (atan2 t26 t27)
-  let t487 := (-t486)
-  let t488 := (cos t487)
-  let t489 := (sin t487)
-  let t492 := ((t72 * t488) + ((t66 * t68) * t489))
-  let t495 := ((t66 * t488) + ((t68 * t68) * t489))
-  let t496 := (t66 * t489)
-  let t504 := ((0 : α) * t496)
-  let t505 := ((0 : α) * t495)
-  let t508 := ((((1 : α) * t492) + t505) + t504)
-  let t510 := ((0 : α) * t492)
-  let t512 := ((t510 + ((1 : α) * t495)) + t504)
-  let t514 := (t510 + t505)
-  let t515 := (t514 + ((1 : α) * t496))
-  let t535 := ((((t93 * t15) + (t97 * t17)) + (t100 * t19)) + t128)
-  let t541 := ((((t93 * t20) + (t97 * t22)) + (t100 * t24)) + t128)
-  let t548 := ((t514 + t504) * (0 : α))
-  (⟨(atan2 (-((((t508 * t15) + (t512 * t17)) + (t515 * t19)) + t548)) ((((t508 * t20) + (t512 * t22)) + (t515 * t24)) + t548)), (atan2 (-((((t93 * (-t8)) + (t97 * t26)) + (t100 * t27)) + t128)) (sqrt ((t535 * t535) + (t541 * t541)))), t486⟩, (256 : Int))
+  let t531 := ((((t93 * t15) + (t97 * ((t8 * t12) - t11))) + (t100 * ((t8 * t10) + t13))) + t128)
+  let t537 := ((((t93 * t20) + (t97 * ((t8 * t13) + t10))) + (t100 * ((t8 * t11) - t12))) + t128)
+  (⟨(atan2 t20 t15), (atan2 (-((((t93 * (-t8)) + (t97 * t26)) + (t100 * t27)) + t128)) (sqrt ((t531 * t531) + (t537 * t537)))), (atan2 t26 t27)⟩, (256 : Int))
 
 /-- extracted from the C++ template at T = Sym; 1 path(s) -/
 def Euler.reorderToZYXr_ZYXr {α : Type} [Add α] [Sub α] [Mul α] [Neg α] [OfNat α 0] [OfNat α 1] (sqrt : α → α) (sin : α → α) (cos : α → α) (atan2 : α → α → α) (a : V3 α) : ((V3 α) × Int) :=
@@ -7024,32 +5647,13 @@ def Euler.reorderToZYXr_ZYXr {α : Type} [Add α] [Sub α] [Mul α] [Neg α] [Of
   let t99 := (t95 + t90)
   let t100 := (t99 + ((1 : α) * t72))
   let t128 := ((t99 + t89) * (0 : α))
-  let t7134 := (t6 * t4)
-  let t7135 := (t6 * t7)
-  let t7136 := (t9 * t4)
-  let t7137 := (t9 * t7)
-  let t7139 := ((t8 * t7136) - t7135)
-  let t7141 := ((t8 * t7134) + t7137)
-  let t7143 := ((t8 * t7137) + t7134)
-  let t7145 := ((t8 * t7135) - t7136)
-  let t7667 := (atan2 t20 t15)
-  let t7668 := (-t7667)
-  let t7669 := (cos t7668)
-  let t7670 := (sin t7668)
-  let t7673 := ((t72 * t7669) + ((t66 * t68) * t7670))
-  let t7676 := ((t66 * t7669) + ((t68 * t68) * t7670))
-  let t7677 := (t66 * t7670)
-  let t7685 := ((0 : α) * t7677)
-  let t7686 := ((0 : α) * t7676)
-  let t7689 := ((((1 : α) * t7673) + t7686) + t7685)
-  let t7691 := ((0 : α) * t7673)
-  let t7693 := ((t7691 + ((1 : α) * t7676)) + t7685)
-  let t7695 := (t7691 + t7686)
-  let t7696 := (t7695 + ((1 : α) * t7677))
-  let t7715 := ((((t93 * t27) + (t97 * t7139)) + (t100 * t7141)) + t128)
-  let t7720 := ((((t93 * t26) + (t97 * t7143)) + (t100 * t7145)) + t128)
-  let t7724 := ((t7695 + t7685) * (0 : α))
-  (⟨(atan2 (-((((t7689 * t27) + (t7693 * t7139)) + (t7696 * t7141)) + t7724)) ((((t7689 * t26) + (t7693 * t7143)) + (t7696 * t7145)) + t7724)), (atan2 (-((((t93 * (-t8)) + (t97 * t20)) + (t100 * t15)) + t128)) (sqrt ((t7715 * t7715) + (t7720 * t7720)))), t7667⟩, (256 : Int))
+  let t7087 := (t6 * t4)
+  let t7088 := (t6 * t7)
+  let t7089 := (t9 * t4)
+  let t7090 := (t9 * t7)
+  let t7661 := ((((t93 * t27) + (t97 * ((t8 * t7089) - t7088))) + (t100 * ((t8 * t7087) + t7090))) + t128)
+  let t7666 := ((((t93 * t26) + (t97 * ((t8 * t7090) + t7087))) + (t100 * ((t8 * t7088) - t7089))) + t128)
+  (⟨(atan2 t26 t27), (atan2 (-((((t93 * (-t8)) + (t97 * t20)) + (t100 * t15)) + t128)) (sqrt ((t7661 * t7661) + (t7666 * t7666)))), (atan2 t20 t15)⟩, (256 : Int))
 
 /-- extracted from the C++ template at T = Sym; 1 path(s) -/
 def Euler.toMatrix33_XZXr {α : Type} [Add α] [Sub α] [Mul α] [Neg α] (sin : α → α) (cos : α → α) (a : V3 α) : (M33 α) :=
@@ -7059,12 +5663,12 @@ def Euler.toMatrix33_XZXr {α : Type} [Add α] [Sub α] [Mul α] [Neg α] (sin :
   let t7 := (sin a.x)
   let t8 := (sin a.y)
   let t9 := (sin a.z)
-  let t4088 := (-t5)
-  let t7134 := (t6 * t4)
-  let t7135 := (t6 * t7)
-  let t7136 := (t9 * t4)
-  let t7137 := (t9 * t7)
-  ⟨((t4088 * t7137) + t7134), ((t5 * t7136) + t7135), (t8 * t9), ((t4088 * t7135) - t7136), ((t5 * t7134) - t7137), (t8 * t6), (t8 * t7), ((-t8) * t4), t5⟩
+  let t4047 := (-t5)
+  let t7087 := (t6 * t4)
+  let t7088 := (t6 * t7)
+  let t7089 := (t9 * t4)
+  let t7090 := (t9 * t7)
+  ⟨((t4047 * t7090) + t7087), ((t5 * t7089) + t7088), (t8 * t9), ((t4047 * t7088) - t7089), ((t5 * t7087) - t7090), (t8 * t6), (t8 * t7), ((-t8) * t4), t5⟩
 
 /-- extracted from the C++ template at T = Sym; 1 path(s) -/
 def Euler.toMatrix44_XZXr {α : Type} [Add α] [Sub α] [Mul α] [Neg α] [OfNat α 0] [OfNat α 1] (sin : α → α) (cos : α → α) (a : V3 α) : (M44 α) :=
@@ -7074,12 +5678,12 @@ def Euler.toMatrix44_XZXr {α : Type} [Add α] [Sub α] [Mul α] [Neg α] [OfNat
   let t7 := (sin a.x)
   let t8 := (sin a.y)
   let t9 := (sin a.z)
-  let t4088 := (-t5)
-  let t7134 := (t6 * t4)
-  let t7135 := (t6 * t7)
-  let t7136 := (t9 * t4)
-  let t7137 := (t9 * t7)
-  ⟨((t4088 * t7137) + t7134), ((t5 * t7136) + t7135), (t8 * t9), (0 : α), ((t4088 * t7135) - t7136), ((t5 * t7134) - t7137), (t8 * t6), (0 : α), (t8 * t7), ((-t8) * t4), t5, (0 : α), (0 : α), (0 : α), (0 : α), (1 : α)⟩
+  let t4047 := (-t5)
+  let t7087 := (t6 * t4)
+  let t7088 := (t6 * t7)
+  let t7089 := (t9 * t4)
+  let t7090 := (t9 * t7)
+  ⟨((t4047 * t7090) + t7087), ((t5 * t7089) + t7088), (t8 * t9), (0 : α), ((t4047 * t7088) - t7089), ((t5 * t7087) - t7090), (t8 * t6), (0 : α), (t8 * t7), ((-t8) * t4), t5, (0 : α), (0 : α), (0 : α), (0 : α), (1 : α)⟩
 
 /-- extracted from the C++ template at T = Sym; 1 path(s) -/
 def Euler.toQuat_XZXr {α : Type} [Add α] [Sub α] [Mul α] [Div α] [OfNat α 1] [OfNat α 2] (sin : α → α) (cos : α → α) (a : V3 α) : (Quat α) :=
@@ -7092,11 +5696,11 @@ def Euler.toQuat_XZXr {α : Type} [Add α] [Sub α] [Mul α] [Div α] [OfNat α 
   let t35 := (sin t29)
   let t36 := (sin t30)
   let t37 := (sin t31)
-  let t6987 := (t34 * t32)
-  let t6988 := (t34 * t35)
-  let t6989 := (t37 * t32)
-  let t6990 := (t37 * t35)
-  ⟨(t33 * (t6987 - t6990)), ⟨((t36 * (t6987 + t6990)) * (1 : α)), (t36 * (t6988 - t6989)), (t33 * (t6988 + t6989))⟩⟩
+  let t6941 := (t34 * t32)
+  let t6942 := (t34 * t35)
+  let t6943 := (t37 * t32)
+  let t6944 := (t37 * t35)
+  ⟨(t33 * (t6941 - t6944)), ⟨((t36 * (t6941 + t6944)) * (1 : α)), (t36 * (t6942 - t6943)), (t33 * (t6942 + t6943))⟩⟩
 
 /-- extracted from the C++ template at T = Sym; 1 path(s) -/
 def Euler.extractM33_XZXr {α : Type} [Add α] [Mul α] [Neg α] [OfNat α 0] [OfNat α 1] (sqrt : α → α) (sin : α → α) (cos : α → α) (atan2 : α → α → α) (m : M33 α) : (V3 α) :=
@@ -7107,36 +5711,36 @@ def Euler.extractM33_XZXr {α : Type} [Add α] [Mul α] [Neg α] [OfNat α 0] [O
   let t73 := (t66 * t68)
   let t89 := ((0 : α) * t72)
   let t95 := ((0 : α) * t70)
-  let t2422 := ((0 : α) * t73)
-  let t6388 := (atan2 m.x02 m.x12)
-  let t6389 := (-t6388)
-  let t6390 := (cos t6389)
-  let t6391 := (sin t6389)
-  let t6392 := (t6390 * t66)
-  let t6393 := (t6391 * t66)
-  let t6394 := (t6390 * t68)
-  let t6396 := (-t6391)
-  let t6398 := ((t6396 * t66) + (t6394 * t68))
-  let t6399 := (t6391 * t68)
-  let t6401 := (t6392 + (t6399 * t68))
-  let t6404 := ((t6396 * t72) + (t6394 * t66))
-  let t6407 := ((t6390 * t72) + (t6399 * t66))
-  let t6408 := ((0 : α) * t6393)
-  let t6411 := ((((1 : α) * t6392) + t6408) + t89)
-  let t6413 := ((0 : α) * t6392)
-  let t6415 := ((t6413 + ((1 : α) * t6393)) + t89)
-  let t6416 := (t6413 + t6408)
-  let t6417 := (t6416 + ((1 : α) * t72))
-  let t6419 := ((0 : α) * t6401)
-  let t6424 := ((0 : α) * t6398)
-  let t6427 := (t6424 + t6419)
-  let t6430 := ((0 : α) * t6407)
-  let t6435 := ((0 : α) * t6404)
-  let t6438 := (t6435 + t6430)
-  let t6441 := ((t6416 + t89) * (0 : α))
-  let t6459 := ((((t6411 * m.x02) + (t6415 * m.x12)) + (t6417 * m.x22)) + t6441)
-  let t6485 := ((((((((1 : α) * t6398) + t6419) + t2422) * m.x02) + (((t6424 + ((1 : α) * t6401)) + t2422) * m.x12)) + ((t6427 + ((1 : α) * t73)) * m.x22)) + ((t6427 + t2422) * (0 : α)))
-  ⟨(atan2 ((((t6411 * m.x01) + (t6415 * m.x11)) + (t6417 * m.x21)) + t6441) ((((t6411 * m.x00) + (t6415 * m.x10)) + (t6417 * m.x20)) + t6441)), (atan2 (sqrt ((t6459 * t6459) + (t6485 * t6485))) ((((((((1 : α) * t6404) + t6430) + t95) * m.x02) + (((t6435 + ((1 : α) * t6407)) + t95) * m.x12)) + ((t6438 + ((1 : α) * t70)) * m.x22)) + ((t6438 + t95) * (0 : α)))), t6388⟩
+  let t2397 := ((0 : α) * t73)
+  let t6343 := (atan2 m.x02 m.x12)
+  let t6344 := (-t6343)
+  let t6345 := (cos t6344)
+  let t6346 := (sin t6344)
+  let t6347 := (t6345 * t66)
+  let t6348 := (t6346 * t66)
+  let t6349 := (t6345 * t68)
+  let t6351 := (-t6346)
+  let t6353 := ((t6351 * t66) + (t6349 * t68))
+  let t6354 := (t6346 * t68)
+  let t6356 := (t6347 + (t6354 * t68))
+  let t6359 := ((t6351 * t72) + (t6349 * t66))
+  let t6362 := ((t6345 * t72) + (t6354 * t66))
+  let t6363 := ((0 : α) * t6348)
+  let t6366 := ((((1 : α) * t6347) + t6363) + t89)
+  let t6368 := ((0 : α) * t6347)
+  let t6370 := ((t6368 + ((1 : α) * t6348)) + t89)
+  let t6371 := (t6368 + t6363)
+  let t6372 := (t6371 + ((1 : α) * t72))
+  let t6374 := ((0 : α) * t6356)
+  let t6379 := ((0 : α) * t6353)
+  let t6382 := (t6379 + t6374)
+  let t6385 := ((0 : α) * t6362)
+  let t6390 := ((0 : α) * t6359)
+  let t6393 := (t6390 + t6385)
+  let t6396 := ((t6371 + t89) * (0 : α))
+  let t6414 := ((((t6366 * m.x02) + (t6370 * m.x12)) + (t6372 * m.x22)) + t6396)
+  let t6440 := ((((((((1 : α) * t6353) + t6374) + t2397) * m.x02) + (((t6379 + ((1 : α) * t6356)) + t2397) * m.x12)) + ((t6382 + ((1 : α) * t73)) * m.x22)) + ((t6382 + t2397) * (0 : α)))
+  ⟨(atan2 ((((t6366 * m.x01) + (t6370 * m.x11)) + (t6372 * m.x21)) + t6396) ((((t6366 * m.x00) + (t6370 * m.x10)) + (t6372 * m.x20)) + t6396)), (atan2 (sqrt ((t6414 * t6414) + (t6440 * t6440))) ((((((((1 : α) * t6359) + t6385) + t95) * m.x02) + (((t6390 + ((1 : α) * t6362)) + t95) * m.x12)) + ((t6393 + ((1 : α) * t70)) * m.x22)) + ((t6393 + t95) * (0 : α)))), t6343⟩
 
 /-- extracted from the C++ template at T = Sym; 1 path(s) -/
 def Euler.extractM44_XZXr {α : Type} [Add α] [Mul α] [Neg α] [OfNat α 0] [OfNat α 1] (sqrt : α → α) (sin : α → α) (cos : α → α) (atan2 : α → α → α) (m : M44 α) : (V3 α) :=
@@ -7147,36 +5751,36 @@ def Euler.extractM44_XZXr {α : Type} [Add α] [Mul α] [Neg α] [OfNat α 0] [O
   let t73 := (t66 * t68)
   let t89 := ((0 : α) * t72)
   let t95 := ((0 : α) * t70)
-  let t2422 := ((0 : α) * t73)
-  let t6388 := (atan2 m.x02 m.x12)
-  let t6389 := (-t6388)
-  let t6390 := (cos t6389)
-  let t6391 := (sin t6389)
-  let t6392 := (t6390 * t66)
-  let t6393 := (t6391 * t66)
-  let t6394 := (t6390 * t68)
-  let t6396 := (-t6391)
-  let t6398 := ((t6396 * t66) + (t6394 * t68))
-  let t6399 := (t6391 * t68)
-  let t6401 := (t6392 + (t6399 * t68))
-  let t6404 := ((t6396 * t72) + (t6394 * t66))
-  let t6407 := ((t6390 * t72) + (t6399 * t66))
-  let t6408 := ((0 : α) * t6393)
-  let t6411 := ((((1 : α) * t6392) + t6408) + t89)
-  let t6413 := ((0 : α) * t6392)
-  let t6415 := ((t6413 + ((1 : α) * t6393)) + t89)
-  let t6416 := (t6413 + t6408)
-  let t6417 := (t6416 + ((1 : α) * t72))
-  let t6418 := (t6416 + t89)
-  let t6419 := ((0 : α) * t6401)
-  let t6424 := ((0 : α) * t6398)
-  let t6427 := (t6424 + t6419)
-  let t6430 := ((0 : α) * t6407)
-  let t6435 := ((0 : α) * t6404)
-  let t6438 := (t6435 + t6430)
-  let t6530 := ((((t6411 * m.x02) + (t6415 * m.x12)) + (t6417 * m.x22)) + (t6418 * m.x32))
-  let t6543 := ((((((((1 : α) * t6398) + t6419) + t2422) * m.x02) + (((t6424 + ((1 : α) * t6401)) + t2422) * m.x12)) + ((t6427 + ((1 : α) * t73)) * m.x22)) + ((t6427 + t2422) * m.x32))
-  ⟨(atan2 ((((t6411 * m.x01) + (t6415 * m.x11)) + (t6417 * m.x21)) + (t6418 * m.x31)) ((((t6411 * m.x00) + (t6415 * m.x10)) + (t6417 * m.x20)) + (t6418 * m.x30))), (atan2 (sqrt ((t6530 * t6530) + (t6543 * t6543))) ((((((((1 : α) * t6404) + t6430) + t95) * m.x02) + (((t6435 + ((1 : α) * t6407)) + t95) * m.x12)) + ((t6438 + ((1 : α) * t70)) * m.x22)) + ((t6438 + t95) * m.x32))), t6388⟩
+  let t2397 := ((0 : α) * t73)
+  let t6343 := (atan2 m.x02 m.x12)
+  let t6344 := (-t6343)
+  let t6345 := (cos t6344)
+  let t6346 := (sin t6344)
+  let t6347 := (t6345 * t66)
+  let t6348 := (t6346 * t66)
+  let t6349 := (t6345 * t68)
+  let t6351 := (-t6346)
+  let t6353 := ((t6351 * t66) + (t6349 * t68))
+  let t6354 := (t6346 * t68)
+  let t6356 := (t6347 + (t6354 * t68))
+  let t6359 := ((t6351 * t72) + (t6349 * t66))
+  let t6362 := ((t6345 * t72) + (t6354 * t66))
+  let t6363 := ((0 : α) * t6348)
+  let t6366 := ((((1 : α) * t6347) + t6363) + t89)
+  let t6368 := ((0 : α) * t6347)
+  let t6370 := ((t6368 + ((1 : α) * t6348)) + t89)
+  let t6371 := (t6368 + t6363)
+  let t6372 := (t6371 + ((1 : α) * t72))
+  let t6373 := (t6371 + t89)
+  let t6374 := ((0 : α) * t6356)
+  let t6379 := ((0 : α) * t6353)
+  let t6382 := (t6379 + t6374)
+  let t6385 := ((0 : α) * t6362)
+  let t6390 := ((0 : α) * t6359)
+  let t6393 := (t6390 + t6385)
+  let t6485 := ((((t6366 * m.x02) + (t6370 * m.x12)) + (t6372 * m.x22)) + (t6373 * m.x32))
+  let t6498 := ((((((((1 : α) * t6353) + t6374) + t2397) * m.x02) + (((t6379 + ((1 : α) * t6356)) + t2397) * m.x12)) + ((t6382 + ((1 : α) * t73)) * m.x22)) + ((t6382 + t2397) * m.x32))
+  ⟨(atan2 ((((t6366 * m.x01) + (t6370 * m.x11)) + (t6372 * m.x21)) + (t6373 * m.x31)) ((((t6366 * m.x00) + (t6370 * m.x10)) + (t6372 * m.x20)) + (t6373 * m.x30))), (atan2 (sqrt ((t6485 * t6485) + (t6498 * t6498))) ((((((((1 : α) * t6359) + t6385) + t95) * m.x02) + (((t6390 + ((1 : α) * t6362)) + t95) * m.x12)) + ((t6393 + ((1 : α) * t70)) * m.x22)) + ((t6393 + t95) * m.x32))), t6343⟩
 
 /-- extracted from the C++ template at T = Sym; 1 path(s) -/
 def Euler.ctorM33_XZXr {α : Type} [Add α] [Mul α] [Neg α] [OfNat α 0] [OfNat α 1] (sqrt : α → α) (sin : α → α) (cos : α → α) (atan2 : α → α → α) (m : M33 α) : ((V3 α) × Int) :=
@@ -7187,36 +5791,36 @@ def Euler.ctorM33_XZXr {α : Type} [Add α] [Mul α] [Neg α] [OfNat α 0] [OfNa
   let t73 := (t66 * t68)
   let t89 := ((0 : α) * t72)
   let t95 := ((0 : α) * t70)
-  let t2422 := ((0 : α) * t73)
-  let t6388 := (atan2 m.x02 m.x12)
-  let t6389 := (-t6388)
-  let t6390 := (cos t6389)
-  let t6391 := (sin t6389)
-  let t6392 := (t6390 * t66)
-  let t6393 := (t6391 * t66)
-  let t6394 := (t6390 * t68)
-  let t6396 := (-t6391)
-  let t6398 := ((t6396 * t66) + (t6394 * t68))
-  let t6399 := (t6391 * t68)
-  let t6401 := (t6392 + (t6399 * t68))
-  let t6404 := ((t6396 * t72) + (t6394 * t66))
-  let t6407 := ((t6390 * t72) + (t6399 * t66))
-  let t6408 := ((0 : α) * t6393)
-  let t6411 := ((((1 : α) * t6392) + t6408) + t89)
-  let t6413 := ((0 : α) * t6392)
-  let t6415 := ((t6413 + ((1 : α) * t6393)) + t89)
-  let t6416 := (t6413 + t6408)
-  let t6417 := (t6416 + ((1 : α) * t72))
-  let t6419 := ((0 : α) * t6401)
-  let t6424 := ((0 : α) * t6398)
-  let t6427 := (t6424 + t6419)
-  let t6430 := ((0 : α) * t6407)
-  let t6435 := ((0 : α) * t6404)
-  let t6438 := (t6435 + t6430)
-  let t6441 := ((t6416 + t89) * (0 : α))
-  let t6459 := ((((t6411 * m.x02) + (t6415 * m.x12)) + (t6417 * m.x22)) + t6441)
-  let t6485 := ((((((((1 : α) * t6398) + t6419) + t2422) * m.x02) + (((t6424 + ((1 : α) * t6401)) + t2422) * m.x12)) + ((t6427 + ((1 : α) * t73)) * m.x22)) + ((t6427 + t2422) * (0 : α)))
-  (⟨(atan2 ((((t6411 * m.x01) + (t6415 * m.x11)) + (t6417 * m.x21)) + t6441) ((((t6411 * m.x00) + (t6415 * m.x10)) + (t6417 * m.x20)) + t6441)), (atan2 (sqrt ((t6459 * t6459) + (t6485 * t6485))) ((((((((1 : α) * t6404) + t6430) + t95) * m.x02) + (((t6435 + ((1 : α) * t6407)) + t95) * m.x12)) + ((t6438 + ((1 : α) * t70)) * m.x22)) + ((t6438 + t95) * (0 : α)))), t6388⟩, (8464 : Int))
+  let t2397 := ((0 : α) * t73)
+  let t6343 := (atan2 m.x02 m.x12)
+  let t6344 := (-t6343)
+  let t6345 := (cos t6344)
+  let t6346 := (sin t6344)
+  let t6347 := (t6345 * t66)
+  let t6348 := (t6346 * t66)
+  let t6349 := (t6345 * t68)
+  let t6351 := (-t6346)
+  let t6353 := ((t6351 * t66) + (t6349 * t68))
+  let t6354 := (t6346 * t68)
+  let t6356 := (t6347 + (t6354 * t68))
+  let t6359 := ((t6351 * t72) + (t6349 * t66))
+  let t6362 := ((t6345 * t72) + (t6354 * t66))
+  let t6363 := ((0 : α) * t6348)
+  let t6366 := ((((1 : α) * t6347) + t6363) + t89)
+  let t6368 := ((0 : α) * t6347)
+  let t6370 := ((t6368 + ((1 : α) * t6348)) + t89)
+  let t6371 := (t6368 + t6363)
+  let t6372 := (t6371 + ((1 : α) * t72))
+  let t6374 := ((0 : α) * t6356)
+  let t6379 := ((0 : α) * t6353)
+  let t6382 := (t6379 + t6374)
+  let t6385 := ((0 : α) * t6362)
+  let t6390 := ((0 : α) * t6359)
+  let t6393 := (t6390 + t6385)
+  let t6396 := ((t6371 + t89) * (0 : α))
+  let t6414 := ((((t6366 * m.x02) + (t6370 * m.x12)) + (t6372 * m.x22)) + t6396)
+  let t6440 := ((((((((1 : α) * t6353) + t6374) + t2397) * m.x02) + (((t6379 + ((1 : α) * t6356)) + t2397) * m.x12)) + ((t6382 + ((1 : α) * t73)) * m.x22)) + ((t6382 + t2397) * (0 : α)))
+  (⟨(atan2 ((((t6366 * m.x01) + (t6370 * m.x11)) + (t6372 * m.x21)) + t6396) ((((t6366 * m.x00) + (t6370 * m.x10)) + (t6372 * m.x20)) + t6396)), (atan2 (sqrt ((t6414 * t6414) + (t6440 * t6440))) ((((((((1 : α) * t6359) + t6385) + t95) * m.x02) + (((t6390 + ((1 : α) * t6362)) + t95) * m.x12)) + ((t6393 + ((1 : α) * t70)) * m.x22)) + ((t6393 + t95) * (0 : α)))), t6343⟩, (8464 : Int))
 
 /-- extracted from the C++ template at T = Sym; 1 path(s) -/
 def Euler.ctorM44_XZXr {α : Type} [Add α] [Mul α] [Neg α] [OfNat α 0] [OfNat α 1] (sqrt : α → α) (sin : α → α) (cos : α → α) (atan2 : α → α → α) (m : M44 α) : ((V3 α) × Int) :=
@@ -7227,36 +5831,36 @@ def Euler.ctorM44_XZXr {α : Type} [Add α] [Mul α] [Neg α] [OfNat α 0] [OfNa
   let t73 := (t66 * t68)
   let t89 := ((0 : α) * t72)
   let t95 := ((0 : α) * t70)
-  let t2422 := ((0 : α) * t73)
-  let t6388 := (atan2 m.x02 m.x12)
-  let t6389 := (-t6388)
-  let t6390 := (cos t6389)
-  let t6391 := (sin t6389)
-  let t6392 := (t6390 * t66)
-  let t6393 := (t6391 * t66)
-  let t6394 := (t6390 * t68)
-  let t6396 := (-t6391)
-  let t6398 := ((t6396 * t66) + (t6394 * t68))
-  let t6399 := (t6391 * t68)
-  let t6401 := (t6392 + (t6399 * t68))
-  let t6404 := ((t6396 * t72) + (t6394 * t66))
-  let t6407 := ((t6390 * t72) + (t6399 * t66))
-  let t6408 := ((0 : α) * t6393)
-  let t6411 := ((((1 : α) * t6392) + t6408) + t89)
-  let t6413 := ((0 : α) * t6392)
-  let t6415 := ((t6413 + ((1 : α) * t6393)) + t89)
-  let t6416 := (t6413 + t6408)
-  let t6417 := (t6416 + ((1 : α) * t72))
-  let t6418 := (t6416 + t89)
-  let t6419 := ((0 : α) * t6401)
-  let t6424 := ((0 : α) * t6398)
-  let t6427 := (t6424 + t6419)
-  let t6430 := ((0 : α) * t6407)
-  let t6435 := ((0 : α) * t6404)
-  let t6438 := (t6435 + t6430)
-  let t6530 := ((((t6411 * m.x02) + (t6415 * m.x12)) + (t6417 * m.x22)) + (t6418 * m.x32))
-  let t6543 := ((((((((1 : α) * t6398) + t6419) + t2422) * m.x02) + (((t6424 + ((1 : α) * t6401)) + t2422) * m.x12)) + ((t6427 + ((1 : α) * t73)) * m.x22)) + ((t6427 + t2422) * m.x32))
-  (⟨(atan2 ((((t6411 * m.x01) + (t6415 * m.x11)) + (t6417 * m.x21)) + (t6418 * m.x31)) ((((t6411 * m.x00) + (t6415 * m.x10)) + (t6417 * m.x20)) + (t6418 * m.x30))), (atan2 (sqrt ((t6530 * t6530) + (t6543 * t6543))) ((((((((1 : α) * t6404) + t6430) + t95) * m.x02) + (((t6435 + ((1 : α) * t6407)) + t95) * m.x12)) + ((t6438 + ((1 : α) * t70)) * m.x22)) + ((t6438 + t95) * m.x32))), t6388⟩, (8464 : Int))
+  let t2397 := ((0 : α) * t73)
+  let t6343 := (atan2 m.x02 m.x12)
+  let t6344 := (-t6343)
+  let t6345 := (cos t6344)
+  let t6346 := (sin t6344)
+  let t6347 := (t6345 * t66)
+  let t6348 := (t6346 * t66)
+  let t6349 := (t6345 * t68)
+  let t6351 := (-t6346)
+  let t6353 := ((t6351 * t66) + (t6349 * t68))
+  let t6354 := (t6346 * t68)
+  let t6356 := (t6347 + (t6354 * t68))
+  let t6359 := ((t6351 * t72) + (t6349 * t66))
+  let t6362 := ((t6345 * t72) + (t6354 * t66))
+  let t6363 := ((0 : α) * t6348)
+  let t6366 := ((((1 : α) * t6347) + t6363) + t89)
+  let t6368 := ((0 : α) * t6347)
+  let t6370 := ((t6368 + ((1 : α) * t6348)) + t89)
+  let t6371 := (t6368 + t6363)
+  let t6372 := (t6371 + ((1 : α) * t72))
+  let t6373 := (t6371 + t89)
+  let t6374 := ((0 : α) * t6356)
+  let t6379 := ((0 : α) * t6353)
+  let t6382 := (t6379 + t6374)
+  let t6385 := ((0 : α) * t6362)
+  let t6390 := ((0 : α) * t6359)
+  let t6393 := (t6390 + t6385)
+  let t6485 := ((((t6366 * m.x02) + (t6370 * m.x12)) + (t6372 * m.x22)) + (t6373 * m.x32))
+  let t6498 := ((((((((1 : α) * t6353) + t6374) + t2397) * m.x02) + (((t6379 + ((1 : α) * t6356)) + t2397) * m.x12)) + ((t6382 + ((1 : α) * t73)) * m.x22)) + ((t6382 + t2397) * m.x32))
+  (⟨(atan2 ((((t6366 * m.x01) + (t6370 * m.x11)) + (t6372 * m.x21)) + (t6373 * m.x31)) ((((t6366 * m.x00) + (t6370 * m.x10)) + (t6372 * m.x20)) + (t6373 * m.x30))), (atan2 (sqrt ((t6485 * t6485) + (t6498 * t6498))) ((((((((1 : α) * t6359) + t6385) + t95) * m.x02) + (((t6390 + ((1 : α) * t6362)) + t95) * m.x12)) + ((t6393 + ((1 : α) * t70)) * m.x22)) + ((t6393 + t95) * m.x32))), t6343⟩, (8464 : Int))
 
 /-- extracted from the C++ template at T = Sym; 1 path(s) -/
 def Euler.extractQuat_XZXr {α : Type} [Add α] [Sub α] [Mul α] [Neg α] [OfNat α 0] [OfNat α 1] [OfNat α 2] (sqrt : α → α) (sin : α → α) (cos : α → α) (atan2 : α → α → α) (q : Quat α) : (V3 α) :=
@@ -7267,48 +5871,48 @@ def Euler.extractQuat_XZXr {α : Type} [Add α] [Sub α] [Mul α] [Neg α] [OfNa
   let t73 := (t66 * t68)
   let t89 := ((0 : α) * t72)
   let t95 := ((0 : α) * t70)
-  let t309 := (q.v.x * q.v.x)
-  let t310 := (q.v.y * q.v.y)
-  let t314 := ((1 : α) - ((2 : α) * (t310 + t309)))
-  let t315 := (q.v.x * q.r)
-  let t316 := (q.v.y * q.v.z)
-  let t319 := (q.v.y * q.r)
-  let t320 := (q.v.z * q.v.x)
-  let t324 := ((2 : α) * (t316 + t315))
-  let t325 := (q.v.z * q.v.z)
-  let t329 := (q.v.z * q.r)
-  let t330 := (q.v.x * q.v.y)
-  let t334 := ((2 : α) * (t320 - t319))
-  let t2422 := ((0 : α) * t73)
-  let t6570 := (atan2 t334 t324)
-  let t6571 := (-t6570)
-  let t6572 := (cos t6571)
-  let t6573 := (sin t6571)
-  let t6574 := (t6572 * t66)
-  let t6575 := (t6573 * t66)
-  let t6576 := (t6572 * t68)
-  let t6578 := (-t6573)
-  let t6580 := ((t6578 * t66) + (t6576 * t68))
-  let t6581 := (t6573 * t68)
-  let t6583 := (t6574 + (t6581 * t68))
-  let t6586 := ((t6578 * t72) + (t6576 * t66))
-  let t6589 := ((t6572 * t72) + (t6581 * t66))
-  let t6590 := ((0 : α) * t6575)
-  let t6593 := ((((1 : α) * t6574) + t6590) + t89)
-  let t6595 := ((0 : α) * t6574)
-  let t6597 := ((t6595 + ((1 : α) * t6575)) + t89)
-  let t6598 := (t6595 + t6590)
-  let t6599 := (t6598 + ((1 : α) * t72))
-  let t6601 := ((0 : α) * t6583)
-  let t6606 := ((0 : α) * t6580)
-  let t6609 := (t6606 + t6601)
-  let t6612 := ((0 : α) * t6589)
-  let t6617 := ((0 : α) * t6586)
-  let t6620 := (t6617 + t6612)
-  let t6623 := ((t6598 + t89) * (0 : α))
-  let t6641 := ((((t6593 * t334) + (t6597 * t324)) + (t6599 * t314)) + t6623)
-  let t6667 := ((((((((1 : α) * t6580) + t6601) + t2422) * t334) + (((t6606 + ((1 : α) * t6583)) + t2422) * t324)) + ((t6609 + ((1 : α) * t73)) * t314)) + ((t6609 + t2422) * (0 : α)))
-  ⟨(atan2 ((((t6593 * ((2 : α) * (t330 + t329))) + (t6597 * ((1 : α) - ((2 : α) * (t325 + t309))))) + (t6599 * ((2 : α) * (t316 - t315)))) + t6623) ((((t6593 * ((1 : α) - ((2 : α) * (t310 + t325)))) + (t6597 * ((2 : α) * (t330 - t329)))) + (t6599 * ((2 : α) * (t320 + t319)))) + t6623)), (atan2 (sqrt ((t6641 * t6641) + (t6667 * t6667))) ((((((((1 : α) * t6586) + t6612) + t95) * t334) + (((t6617 + ((1 : α) * t6589)) + t95) * t324)) + ((t6620 + ((1 : α) * t70)) * t314)) + ((t6620 + t95) * (0 : α)))), t6570⟩
+  let t306 := (q.v.x * q.v.x)
+  let t307 := (q.v.y * q.v.y)
+  let t311 := ((1 : α) - ((2 : α) * (t307 + t306)))
+  let t312 := (q.v.x * q.r)
+  let t313 := (q.v.y * q.v.z)
+  let t316 := (q.v.y * q.r)
+  let t317 := (q.v.z * q.v.x)
+  let t321 := ((2 : α) * (t313 + t312))
+  let t322 := (q.v.z * q.v.z)
+  let t326 := (q.v.z * q.r)
+  let t327 := (q.v.x * q.v.y)
+  let t331 := ((2 : α) * (t317 - t316))
+  let t2397 := ((0 : α) * t73)
+  let t6525 := (atan2 t331 t321)
+  let t6526 := (-t6525)
+  let t6527 := (cos t6526)
+  let t6528 := (sin t6526)
+  let t6529 := (t6527 * t66)
+  let t6530 := (t6528 * t66)
+  let t6531 := (t6527 * t68)
+  let t6533 := (-t6528)
+  let t6535 := ((t6533 * t66) + (t6531 * t68))
+  let t6536 := (t6528 * t68)
+  let t6538 := (t6529 + (t6536 * t68))
+  let t6541 := ((t6533 * t72) + (t6531 * t66))
+  let t6544 := ((t6527 * t72) + (t6536 * t66))
+  let t6545 := ((0 : α) * t6530)
+  let t6548 := ((((1 : α) * t6529) + t6545) + t89)
+  let t6550 := ((0 : α) * t6529)
+  let t6552 := ((t6550 + ((1 : α) * t6530)) + t89)
+  let t6553 := (t6550 + t6545)
+  let t6554 := (t6553 + ((1 : α) * t72))
+  let t6556 := ((0 : α) * t6538)
+  let t6561 := ((0 : α) * t6535)
+  let t6564 := (t6561 + t6556)
+  let t6567 := ((0 : α) * t6544)
+  let t6572 := ((0 : α) * t6541)
+  let t6575 := (t6572 + t6567)
+  let t6578 := ((t6553 + t89) * (0 : α))
+  let t6596 := ((((t6548 * t331) + (t6552 * t321)) + (t6554 * t311)) + t6578)
+  let t6622 := ((((((((1 : α) * t6535) + t6556) + t2397) * t331) + (((t6561 + ((1 : α) * t6538)) + t2397) * t321)) + ((t6564 + ((1 : α) * t73)) * t311)) + ((t6564 + t2397) * (0 : α)))
+  ⟨(atan2 ((((t6548 * ((2 : α) * (t327 + t326))) + (t6552 * ((1 : α) - ((2 : α) * (t322 + t306))))) + (t6554 * ((2 : α) * (t313 - t312)))) + t6578) ((((t6548 * ((1 : α) - ((2 : α) * (t307 + t322)))) + (t6552 * ((2 : α) * (t327 - t326)))) + (t6554 * ((2 : α) * (t317 + t316)))) + t6578)), (atan2 (sqrt ((t6596 * t6596) + (t6622 * t6622))) ((((((((1 : α) * t6541) + t6567) + t95) * t331) + (((t6572 + ((1 : α) * t6544)) + t95) * t321)) + ((t6575 + ((1 : α) * t70)) * t311)) + ((t6575 + t95) * (0 : α)))), t6525⟩
 
 /-- extracted from the C++ template at T = Sym; 1 path(s) -/
 def Euler.ctorXYZLayout_XZXr {α : Type} (v : V3 α) : ((V3 α) × Int) :=
@@ -7372,36 +5976,36 @@ def Euler.reorderFromXYZ_XZXr {α : Type} [Add α] [Sub α] [Mul α] [Neg α] [O
   let t73 := (t66 * t68)
   let t89 := ((0 : α) * t72)
   let t95 := ((0 : α) * t70)
-  let t2422 := ((0 : α) * t73)
-  let t6707 := (atan2 t25 t26)
-  let t6708 := (-t6707)
-  let t6709 := (cos t6708)
-  let t6710 := (sin t6708)
-  let t6711 := (t6709 * t66)
-  let t6712 := (t6710 * t66)
-  let t6713 := (t6709 * t68)
-  let t6715 := (-t6710)
-  let t6717 := ((t6715 * t66) + (t6713 * t68))
-  let t6718 := (t6710 * t68)
-  let t6720 := (t6711 + (t6718 * t68))
-  let t6723 := ((t6715 * t72) + (t6713 * t66))
-  let t6726 := ((t6709 * t72) + (t6718 * t66))
-  let t6727 := ((0 : α) * t6712)
-  let t6730 := ((((1 : α) * t6711) + t6727) + t89)
-  let t6732 := ((0 : α) * t6711)
-  let t6734 := ((t6732 + ((1 : α) * t6712)) + t89)
-  let t6735 := (t6732 + t6727)
-  let t6736 := (t6735 + ((1 : α) * t72))
-  let t6738 := ((0 : α) * t6720)
-  let t6743 := ((0 : α) * t6717)
-  let t6746 := (t6743 + t6738)
-  let t6749 := ((0 : α) * t6726)
-  let t6754 := ((0 : α) * t6723)
-  let t6757 := (t6754 + t6749)
-  let t6760 := ((t6735 + t89) * (0 : α))
-  let t6778 := ((((t6730 * t25) + (t6734 * t26)) + (t6736 * t27)) + t6760)
-  let t6804 := ((((((((1 : α) * t6717) + t6738) + t2422) * t25) + (((t6743 + ((1 : α) * t6720)) + t2422) * t26)) + ((t6746 + ((1 : α) * t73)) * t27)) + ((t6746 + t2422) * (0 : α)))
-  (⟨(atan2 ((((t6730 * (t5 * t9)) + (t6734 * ((t8 * t13) + t10))) + (t6736 * ((t8 * t11) - t12))) + t6760) ((((t6730 * (t5 * t6)) + (t6734 * ((t8 * t12) - t11))) + (t6736 * ((t8 * t10) + t13))) + t6760)), (atan2 (sqrt ((t6778 * t6778) + (t6804 * t6804))) ((((((((1 : α) * t6723) + t6749) + t95) * t25) + (((t6754 + ((1 : α) * t6726)) + t95) * t26)) + ((t6757 + ((1 : α) * t70)) * t27)) + ((t6757 + t95) * (0 : α)))), t6707⟩, (8464 : Int))
+  let t2397 := ((0 : α) * t73)
+  let t6662 := (atan2 t25 t26)
+  let t6663 := (-t6662)
+  let t6664 := (cos t6663)
+  let t6665 := (sin t6663)
+  let t6666 := (t6664 * t66)
+  let t6667 := (t6665 * t66)
+  let t6668 := (t6664 * t68)
+  let t6670 := (-t6665)
+  let t6672 := ((t6670 * t66) + (t6668 * t68))
+  let t6673 := (t6665 * t68)
+  let t6675 := (t6666 + (t6673 * t68))
+  let t6678 := ((t6670 * t72) + (t6668 * t66))
+  let t6681 := ((t6664 * t72) + (t6673 * t66))
+  let t6682 := ((0 : α) * t6667)
+  let t6685 := ((((1 : α) * t6666) + t6682) + t89)
+  let t6687 := ((0 : α) * t6666)
+  let t6689 := ((t6687 + ((1 : α) * t6667)) + t89)
+  let t6690 := (t6687 + t6682)
+  let t6691 := (t6690 + ((1 : α) * t72))
+  let t6693 := ((0 : α) * t6675)
+  let t6698 := ((0 : α) * t6672)
+  let t6701 := (t6698 + t6693)
+  let t6704 := ((0 : α) * t6681)
+  let t6709 := ((0 : α) * t6678)
+  let t6712 := (t6709 + t6704)
+  let t6715 := ((t6690 + t89) * (0 : α))
+  let t6733 := ((((t6685 * t25) + (t6689 * t26)) + (t6691 * t27)) + t6715)
+  let t6759 := ((((((((1 : α) * t6672) + t6693) + t2397) * t25) + (((t6698 + ((1 : α) * t6675)) + t2397) * t26)) + ((t6701 + ((1 : α) * t73)) * t27)) + ((t6701 + t2397) * (0 : α)))
+  (⟨(atan2 ((((t6685 * (t5 * t9)) + (t6689 * ((t8 * t13) + t10))) + (t6691 * ((t8 * t11) - t12))) + t6715) ((((t6685 * (t5 * t6)) + (t6689 * ((t8 * t12) - t11))) + (t6691 * ((t8 * t10) + t13))) + t6715)), (atan2 (sqrt ((t6733 * t6733) + (t6759 * t6759))) ((((((((1 : α) * t6678) + t6704) + t95) * t25) + (((t6709 + ((1 : α) * t6681)) + t95) * t26)) + ((t6712 + ((1 : α) * t70)) * t27)) + ((t6712 + t95) * (0 : α)))), t6662⟩, (8464 : Int))
 
 /-- extracted from the C++ template at T = Sym; 1 path(s) -/
 def Euler.reorderToZYXr_XZXr {α : Type} [Add α] [Sub α] [Mul α] [Neg α] [OfNat α 0] [OfNat α 1] (sqrt : α → α) (sin : α → α) (cos : α → α) (atan2 : α → α → α) (a : V3 α) : ((V3 α) × Int) :=
@@ -7424,72 +6028,53 @@ def Euler.reorderToZYXr_XZXr {α : Type} [Add α] [Sub α] [Mul α] [Neg α] [Of
   let t99 := (t95 + t90)
   let t100 := (t99 + ((1 : α) * t72))
   let t128 := ((t99 + t89) * (0 : α))
-  let t4085 := (t8 * t7)
-  let t4088 := (-t5)
-  let t7134 := (t6 * t4)
-  let t7135 := (t6 * t7)
-  let t7136 := (t9 * t4)
-  let t7137 := (t9 * t7)
-  let t7793 := (t8 * t6)
-  let t7795 := ((t4088 * t7137) + t7134)
-  let t7797 := ((t4088 * t7135) - t7136)
-  let t7798 := ((-t8) * t4)
-  let t7800 := ((t5 * t7136) + t7135)
-  let t7802 := ((t5 * t7134) - t7137)
-  let t7812 := (atan2 t7793 t5)
-  let t7813 := (-t7812)
-  let t7814 := (cos t7813)
-  let t7815 := (sin t7813)
-  let t7818 := ((t72 * t7814) + ((t66 * t68) * t7815))
-  let t7821 := ((t66 * t7814) + ((t68 * t68) * t7815))
-  let t7822 := (t66 * t7815)
-  let t7830 := ((0 : α) * t7822)
-  let t7831 := ((0 : α) * t7821)
-  let t7834 := ((((1 : α) * t7818) + t7831) + t7830)
-  let t7836 := ((0 : α) * t7818)
-  let t7838 := ((t7836 + ((1 : α) * t7821)) + t7830)
-  let t7840 := (t7836 + t7831)
-  let t7841 := (t7840 + ((1 : α) * t7822))
-  let t7860 := ((((t93 * t7795) + (t97 * t7797)) + (t100 * t4085)) + t128)
-  let t7866 := ((((t93 * t7800) + (t97 * t7802)) + (t100 * t7798)) + t128)
-  let t7871 := ((t7840 + t7830) * (0 : α))
-  (⟨(atan2 (-((((t7834 * t7795) + (t7838 * t7797)) + (t7841 * t4085)) + t7871)) ((((t7834 * t7800) + (t7838 * t7802)) + (t7841 * t7798)) + t7871)), (atan2 (-((((t93 * (t8 * t9)) + (t97 * t7793)) + (t100 * t5)) + t128)) (sqrt ((t7860 * t7860) + (t7866 * t7866)))), t7812⟩, (256 : Int))
+  let t4047 := (-t5)
+  let t7087 := (t6 * t4)
+  let t7088 := (t6 * t7)
+  let t7089 := (t9 * t4)
+  let t7090 := (t9 * t7)
+  let t7737 := (t8 * t6)
+  let t7739 := ((t4047 * t7090) + t7087)
+  let t7744 := ((t5 * t7089) + t7088)
+  let t7804 := ((((t93 * t7739) + (t97 * ((t4047 * t7088) - t7089))) + (t100 * (t8 * t7))) + t128)
+  let t7810 := ((((t93 * t7744) + (t97 * ((t5 * t7087) - t7090))) + (t100 * ((-t8) * t4))) + t128)
+  (⟨(atan2 t7744 t7739), (atan2 (-((((t93 * (t8 * t9)) + (t97 * t7737)) + (t100 * t5)) + t128)) (sqrt ((t7804 * t7804) + (t7810 * t7810)))), (atan2 t7737 t5)⟩, (256 : Int))
 
 /-- extracted from the C++ template at T = Sym; 1 path(s) -/
 def Euler.toMatrix33_XYXr {α : Type} [Add α] [Sub α] [Mul α] [Neg α] [OfNat α 1] (sin : α → α) (cos : α → α) (a : V3 α) : (M33 α) :=
-  let t627 := (a.x * (-(1 : α)))
-  let t628 := (a.y * (-(1 : α)))
-  let t629 := (a.z * (-(1 : α)))
-  let t630 := (cos t627)
-  let t631 := (cos t628)
-  let t632 := (cos t629)
-  let t633 := (sin t627)
-  let t634 := (sin t628)
-  let t635 := (sin t629)
-  let t3580 := (-t631)
-  let t6975 := (t632 * t630)
-  let t6976 := (t632 * t633)
-  let t6977 := (t635 * t630)
-  let t6978 := (t635 * t633)
-  ⟨((t631 * t6975) - t6978), ((t3580 * t6976) - t6977), (t634 * t632), ((t631 * t6977) + t6976), ((t3580 * t6978) + t6975), (t634 * t635), ((-t634) * t630), (t634 * t633), t631⟩
+  let t622 := (a.x * (-(1 : α)))
+  let t623 := (a.y * (-(1 : α)))
+  let t624 := (a.z * (-(1 : α)))
+  let t625 := (cos t622)
+  let t626 := (cos t623)
+  let t627 := (cos t624)
+  let t628 := (sin t622)
+  let t629 := (sin t623)
+  let t630 := (sin t624)
+  let t3540 := (-t626)
+  let t6929 := (t627 * t625)
+  let t6930 := (t627 * t628)
+  let t6931 := (t630 * t625)
+  let t6932 := (t630 * t628)
+  ⟨((t626 * t6929) - t6932), ((t3540 * t6930) - t6931), (t629 * t627), ((t626 * t6931) + t6930), ((t3540 * t6932) + t6929), (t629 * t630), ((-t629) * t625), (t629 * t628), t626⟩
 
 /-- extracted from the C++ template at T = Sym; 1 path(s) -/
 def Euler.toMatrix44_XYXr {α : Type} [Add α] [Sub α] [Mul α] [Neg α] [OfNat α 0] [OfNat α 1] (sin : α → α) (cos : α → α) (a : V3 α) : (M44 α) :=
-  let t627 := (a.x * (-(1 : α)))
-  let t628 := (a.y * (-(1 : α)))
-  let t629 := (a.z * (-(1 : α)))
-  let t630 := (cos t627)
-  let t631 := (cos t628)
-  let t632 := (cos t629)
-  let t633 := (sin t627)
-  let t634 := (sin t628)
-  let t635 := (sin t629)
-  let t3580 := (-t631)
-  let t6975 := (t632 * t630)
-  let t6976 := (t632 * t633)
-  let t6977 := (t635 * t630)
-  let t6978 := (t635 * t633)
-  ⟨((t631 * t6975) - t6978), ((t3580 * t6976) - t6977), (t634 * t632), (0 : α), ((t631 * t6977) + t6976), ((t3580 * t6978) + t6975), (t634 * t635), (0 : α), ((-t634) * t630), (t634 * t633), t631, (0 : α), (0 : α), (0 : α), (0 : α), (1 : α)⟩
+  let t622 := (a.x * (-(1 : α)))
+  let t623 := (a.y * (-(1 : α)))
+  let t624 := (a.z * (-(1 : α)))
+  let t625 := (cos t622)
+  let t626 := (cos t623)
+  let t627 := (cos t624)
+  let t628 := (sin t622)
+  let t629 := (sin t623)
+  let t630 := (sin t624)
+  let t3540 := (-t626)
+  let t6929 := (t627 * t625)
+  let t6930 := (t627 * t628)
+  let t6931 := (t630 * t625)
+  let t6932 := (t630 * t628)
+  ⟨((t626 * t6929) - t6932), ((t3540 * t6930) - t6931), (t629 * t627), (0 : α), ((t626 * t6931) + t6930), ((t3540 * t6932) + t6929), (t629 * t630), (0 : α), ((-t629) * t625), (t629 * t628), t626, (0 : α), (0 : α), (0 : α), (0 : α), (1 : α)⟩
 
 /-- extracted from the C++ template at T = Sym; 1 path(s) -/
 def Euler.toQuat_XYXr {α : Type} [Add α] [Sub α] [Mul α] [Div α] [Neg α] [OfNat α 1] [OfNat α 2] (sin : α → α) (cos : α → α) (a : V3 α) : (Quat α) :=
@@ -7499,14 +6084,14 @@ def Euler.toQuat_XYXr {α : Type} [Add α] [Sub α] [Mul α] [Div α] [Neg α] [
   let t34 := (cos t31)
   let t35 := (sin t29)
   let t37 := (sin t31)
-  let t654 := ((-a.y) * ((1 : α) / (2 : α)))
-  let t655 := (cos t654)
-  let t656 := (sin t654)
-  let t6987 := (t34 * t32)
-  let t6988 := (t34 * t35)
-  let t6989 := (t37 * t32)
-  let t6990 := (t37 * t35)
-  ⟨(t655 * (t6987 - t6990)), ⟨(t656 * (t6988 - t6989)), ((t656 * (t6987 + t6990)) * (-(1 : α))), (t655 * (t6988 + t6989))⟩⟩
+  let t649 := ((-a.y) * ((1 : α) / (2 : α)))
+  let t650 := (cos t649)
+  let t651 := (sin t649)
+  let t6941 := (t34 * t32)
+  let t6942 := (t34 * t35)
+  let t6943 := (t37 * t32)
+  let t6944 := (t37 * t35)
+  ⟨(t650 * (t6941 - t6944)), ⟨(t651 * (t6942 - t6943)), ((t651 * (t6941 + t6944)) * (-(1 : α))), (t650 * (t6942 + t6943))⟩⟩
 
 /-- extracted from the C++ template at T = Sym; 1 path(s) -/
 def Euler.extractM33_XYXr {α : Type} [Add α] [Mul α] [Neg α] [OfNat α 0] [OfNat α 1] (sqrt : α → α) (sin : α → α) (cos : α → α) (atan2 : α → α → α) (m : M33 α) : (V3 α) :=
@@ -7517,35 +6102,35 @@ def Euler.extractM33_XYXr {α : Type} [Add α] [Mul α] [Neg α] [OfNat α 0] [O
   let t73 := (t66 * t68)
   let t89 := ((0 : α) * t72)
   let t95 := ((0 : α) * t70)
-  let t2422 := ((0 : α) * t73)
-  let t5793 := (atan2 m.x12 m.x02)
-  let t5794 := (cos t5793)
-  let t5795 := (sin t5793)
-  let t5796 := (t5794 * t66)
-  let t5797 := (t5795 * t66)
-  let t5798 := (t5794 * t68)
-  let t5800 := (-t5795)
-  let t5802 := ((t5800 * t66) + (t5798 * t68))
-  let t5803 := (t5795 * t68)
-  let t5805 := (t5796 + (t5803 * t68))
-  let t5808 := ((t5800 * t72) + (t5798 * t66))
-  let t5811 := ((t5794 * t72) + (t5803 * t66))
-  let t5812 := ((0 : α) * t5797)
-  let t5817 := ((0 : α) * t5796)
-  let t5820 := (t5817 + t5812)
-  let t5823 := ((0 : α) * t5805)
-  let t5826 := ((((1 : α) * t5802) + t5823) + t2422)
-  let t5828 := ((0 : α) * t5802)
-  let t5830 := ((t5828 + ((1 : α) * t5805)) + t2422)
-  let t5831 := (t5828 + t5823)
-  let t5832 := (t5831 + ((1 : α) * t73))
-  let t5834 := ((0 : α) * t5811)
-  let t5839 := ((0 : α) * t5808)
-  let t5842 := (t5839 + t5834)
-  let t5863 := ((((((((1 : α) * t5796) + t5812) + t89) * m.x02) + (((t5817 + ((1 : α) * t5797)) + t89) * m.x12)) + ((t5820 + ((1 : α) * t72)) * m.x22)) + ((t5820 + t89) * (0 : α)))
-  let t5871 := ((t5831 + t2422) * (0 : α))
-  let t5889 := ((((t5826 * m.x02) + (t5830 * m.x12)) + (t5832 * m.x22)) + t5871)
-  ⟨((atan2 ((((t5826 * m.x00) + (t5830 * m.x10)) + (t5832 * m.x20)) + t5871) ((((t5826 * m.x01) + (t5830 * m.x11)) + (t5832 * m.x21)) + t5871)) * (-(1 : α))), ((atan2 (sqrt ((t5889 * t5889) + (t5863 * t5863))) ((((((((1 : α) * t5808) + t5834) + t95) * m.x02) + (((t5839 + ((1 : α) * t5811)) + t95) * m.x12)) + ((t5842 + ((1 : α) * t70)) * m.x22)) + ((t5842 + t95) * (0 : α)))) * (-(1 : α))), (t5793 * (-(1 : α)))⟩
+  let t2397 := ((0 : α) * t73)
+  let t5749 := (atan2 m.x12 m.x02)
+  let t5750 := (cos t5749)
+  let t5751 := (sin t5749)
+  let t5752 := (t5750 * t66)
+  let t5753 := (t5751 * t66)
+  let t5754 := (t5750 * t68)
+  let t5756 := (-t5751)
+  let t5758 := ((t5756 * t66) + (t5754 * t68))
+  let t5759 := (t5751 * t68)
+  let t5761 := (t5752 + (t5759 * t68))
+  let t5764 := ((t5756 * t72) + (t5754 * t66))
+  let t5767 := ((t5750 * t72) + (t5759 * t66))
+  let t5768 := ((0 : α) * t5753)
+  let t5773 := ((0 : α) * t5752)
+  let t5776 := (t5773 + t5768)
+  let t5779 := ((0 : α) * t5761)
+  let t5782 := ((((1 : α) * t5758) + t5779) + t2397)
+  let t5784 := ((0 : α) * t5758)
+  let t5786 := ((t5784 + ((1 : α) * t5761)) + t2397)
+  let t5787 := (t5784 + t5779)
+  let t5788 := (t5787 + ((1 : α) * t73))
+  let t5790 := ((0 : α) * t5767)
+  let t5795 := ((0 : α) * t5764)
+  let t5798 := (t5795 + t5790)
+  let t5819 := ((((((((1 : α) * t5752) + t5768) + t89) * m.x02) + (((t5773 + ((1 : α) * t5753)) + t89) * m.x12)) + ((t5776 + ((1 : α) * t72)) * m.x22)) + ((t5776 + t89) * (0 : α)))
+  let t5827 := ((t5787 + t2397) * (0 : α))
+  let t5845 := ((((t5782 * m.x02) + (t5786 * m.x12)) + (t5788 * m.x22)) + t5827)
+  ⟨((atan2 ((((t5782 * m.x00) + (t5786 * m.x10)) + (t5788 * m.x20)) + t5827) ((((t5782 * m.x01) + (t5786 * m.x11)) + (t5788 * m.x21)) + t5827)) * (-(1 : α))), ((atan2 (sqrt ((t5845 * t5845) + (t5819 * t5819))) ((((((((1 : α) * t5764) + t5790) + t95) * m.x02) + (((t5795 + ((1 : α) * t5767)) + t95) * m.x12)) + ((t5798 + ((1 : α) * t70)) * m.x22)) + ((t5798 + t95) * (0 : α)))) * (-(1 : α))), (t5749 * (-(1 : α)))⟩
 
 /-- extracted from the C++ template at T = Sym; 1 path(s) -/
 def Euler.extractM44_XYXr {α : Type} [Add α] [Mul α] [Neg α] [OfNat α 0] [OfNat α 1] (sqrt : α → α) (sin : α → α) (cos : α → α) (atan2 : α → α → α) (m : M44 α) : (V3 α) :=
@@ -7556,35 +6141,35 @@ def Euler.extractM44_XYXr {α : Type} [Add α] [Mul α] [Neg α] [OfNat α 0] [O
   let t73 := (t66 * t68)
   let t89 := ((0 : α) * t72)
   let t95 := ((0 : α) * t70)
-  let t2422 := ((0 : α) * t73)
-  let t5793 := (atan2 m.x12 m.x02)
-  let t5794 := (cos t5793)
-  let t5795 := (sin t5793)
-  let t5796 := (t5794 * t66)
-  let t5797 := (t5795 * t66)
-  let t5798 := (t5794 * t68)
-  let t5800 := (-t5795)
-  let t5802 := ((t5800 * t66) + (t5798 * t68))
-  let t5803 := (t5795 * t68)
-  let t5805 := (t5796 + (t5803 * t68))
-  let t5808 := ((t5800 * t72) + (t5798 * t66))
-  let t5811 := ((t5794 * t72) + (t5803 * t66))
-  let t5812 := ((0 : α) * t5797)
-  let t5817 := ((0 : α) * t5796)
-  let t5820 := (t5817 + t5812)
-  let t5823 := ((0 : α) * t5805)
-  let t5826 := ((((1 : α) * t5802) + t5823) + t2422)
-  let t5828 := ((0 : α) * t5802)
-  let t5830 := ((t5828 + ((1 : α) * t5805)) + t2422)
-  let t5831 := (t5828 + t5823)
-  let t5832 := (t5831 + ((1 : α) * t73))
-  let t5833 := (t5831 + t2422)
-  let t5834 := ((0 : α) * t5811)
-  let t5839 := ((0 : α) * t5808)
-  let t5842 := (t5839 + t5834)
-  let t5937 := ((((((((1 : α) * t5796) + t5812) + t89) * m.x02) + (((t5817 + ((1 : α) * t5797)) + t89) * m.x12)) + ((t5820 + ((1 : α) * t72)) * m.x22)) + ((t5820 + t89) * m.x32))
-  let t5950 := ((((t5826 * m.x02) + (t5830 * m.x12)) + (t5832 * m.x22)) + (t5833 * m.x32))
-  ⟨((atan2 ((((t5826 * m.x00) + (t5830 * m.x10)) + (t5832 * m.x20)) + (t5833 * m.x30)) ((((t5826 * m.x01) + (t5830 * m.x11)) + (t5832 * m.x21)) + (t5833 * m.x31))) * (-(1 : α))), ((atan2 (sqrt ((t5950 * t5950) + (t5937 * t5937))) ((((((((1 : α) * t5808) + t5834) + t95) * m.x02) + (((t5839 + ((1 : α) * t5811)) + t95) * m.x12)) + ((t5842 + ((1 : α) * t70)) * m.x22)) + ((t5842 + t95) * m.x32))) * (-(1 : α))), (t5793 * (-(1 : α)))⟩
+  let t2397 := ((0 : α) * t73)
+  let t5749 := (atan2 m.x12 m.x02)
+  let t5750 := (cos t5749)
+  let t5751 := (sin t5749)
+  let t5752 := (t5750 * t66)
+  let t5753 := (t5751 * t66)
+  let t5754 := (t5750 * t68)
+  let t5756 := (-t5751)
+  let t5758 := ((t5756 * t66) + (t5754 * t68))
+  let t5759 := (t5751 * t68)
+  let t5761 := (t5752 + (t5759 * t68))
+  let t5764 := ((t5756 * t72) + (t5754 * t66))
+  let t5767 := ((t5750 * t72) + (t5759 * t66))
+  let t5768 := ((0 : α) * t5753)
+  let t5773 := ((0 : α) * t5752)
+  let t5776 := (t5773 + t5768)
+  let t5779 := ((0 : α) * t5761)
+  let t5782 := ((((1 : α) * t5758) + t5779) + t2397)
+  let t5784 := ((0 : α) * t5758)
+  let t5786 := ((t5784 + ((1 : α) * t5761)) + t2397)
+  let t5787 := (t5784 + t5779)
+  let t5788 := (t5787 + ((1 : α) * t73))
+  let t5789 := (t5787 + t2397)
+  let t5790 := ((0 : α) * t5767)
+  let t5795 := ((0 : α) * t5764)
+  let t5798 := (t5795 + t5790)
+  let t5893 := ((((((((1 : α) * t5752) + t5768) + t89) * m.x02) + (((t5773 + ((1 : α) * t5753)) + t89) * m.x12)) + ((t5776 + ((1 : α) * t72)) * m.x22)) + ((t5776 + t89) * m.x32))
+  let t5906 := ((((t5782 * m.x02) + (t5786 * m.x12)) + (t5788 * m.x22)) + (t5789 * m.x32))
+  ⟨((atan2 ((((t5782 * m.x00) + (t5786 * m.x10)) + (t5788 * m.x20)) + (t5789 * m.x30)) ((((t5782 * m.x01) + (t5786 * m.x11)) + (t5788 * m.x21)) + (t5789 * m.x31))) * (-(1 : α))), ((atan2 (sqrt ((t5906 * t5906) + (t5893 * t5893))) ((((((((1 : α) * t5764) + t5790) + t95) * m.x02) + (((t5795 + ((1 : α) * t5767)) + t95) * m.x12)) + ((t5798 + ((1 : α) * t70)) * m.x22)) + ((t5798 + t95) * m.x32))) * (-(1 : α))), (t5749 * (-(1 : α)))⟩
 
 /-- extracted from the C++ template at T = Sym; 1 path(s) -/
 def Euler.ctorM33_XYXr {α : Type} [Add α] [Mul α] [Neg α] [OfNat α 0] [OfNat α 1] (sqrt : α → α) (sin : α → α) (cos : α → α) (atan2 : α → α → α) (m : M33 α) : ((V3 α) × Int) :=
@@ -7595,35 +6180,35 @@ def Euler.ctorM33_XYXr {α : Type} [Add α] [Mul α] [Neg α] [OfNat α 0] [OfNa
   let t73 := (t66 * t68)
   let t89 := ((0 : α) * t72)
   let t95 := ((0 : α) * t70)
-  let t2422 := ((0 : α) * t73)
-  let t5793 := (atan2 m.x12 m.x02)
-  let t5794 := (cos t5793)
-  let t5795 := (sin t5793)
-  let t5796 := (t5794 * t66)
-  let t5797 := (t5795 * t66)
-  let t5798 := (t5794 * t68)
-  let t5800 := (-t5795)
-  let t5802 := ((t5800 * t66) + (t5798 * t68))
-  let t5803 := (t5795 * t68)
-  let t5805 := (t5796 + (t5803 * t68))
-  let t5808 := ((t5800 * t72) + (t5798 * t66))
-  let t5811 := ((t5794 * t72) + (t5803 * t66))
-  let t5812 := ((0 : α) * t5797)
-  let t5817 := ((0 : α) * t5796)
-  let t5820 := (t5817 + t5812)
-  let t5823 := ((0 : α) * t5805)
-  let t5826 := ((((1 : α) * t5802) + t5823) + t2422)
-  let t5828 := ((0 : α) * t5802)
-  let t5830 := ((t5828 + ((1 : α) * t5805)) + t2422)
-  let t5831 := (t5828 + t5823)
-  let t5832 := (t5831 + ((1 : α) * t73))
-  let t5834 := ((0 : α) * t5811)
-  let t5839 := ((0 : α) * t5808)
-  let t5842 := (t5839 + t5834)
-  let t5863 := ((((((((1 : α) * t5796) + t5812) + t89) * m.x02) + (((t5817 + ((1 : α) * t5797)) + t89) * m.x12)) + ((t5820 + ((1 : α) * t72)) * m.x22)) + ((t5820 + t89) * (0 : α)))
-  let t5871 := ((t5831 + t2422) * (0 : α))
-  let t5889 := ((((t5826 * m.x02) + (t5830 * m.x12)) + (t5832 * m.x22)) + t5871)
-  (⟨((atan2 ((((t5826 * m.x00) + (t5830 * m.x10)) + (t5832 * m.x20)) + t5871) ((((t5826 * m.x01) + (t5830 * m.x11)) + (t5832 * m.x21)) + t5871)) * (-(1 : α))), ((atan2 (sqrt ((t5889 * t5889) + (t5863 * t5863))) ((((((((1 : α) * t5808) + t5834) + t95) * m.x02) + (((t5839 + ((1 : α) * t5811)) + t95) * m.x12)) + ((t5842 + ((1 : α) * t70)) * m.x22)) + ((t5842 + t95) * (0 : α)))) * (-(1 : α))), (t5793 * (-(1 : α)))⟩, (8208 : Int))
+  let t2397 := ((0 : α) * t73)
+  let t5749 := (atan2 m.x12 m.x02)
+  let t5750 := (cos t5749)
+  let t5751 := (sin t5749)
+  let t5752 := (t5750 * t66)
+  let t5753 := (t5751 * t66)
+  let t5754 := (t5750 * t68)
+  let t5756 := (-t5751)
+  let t5758 := ((t5756 * t66) + (t5754 * t68))
+  let t5759 := (t5751 * t68)
+  let t5761 := (t5752 + (t5759 * t68))
+  let t5764 := ((t5756 * t72) + (t5754 * t66))
+  let t5767 := ((t5750 * t72) + (t5759 * t66))
+  let t5768 := ((0 : α) * t5753)
+  let t5773 := ((0 : α) * t5752)
+  let t5776 := (t5773 + t5768)
+  let t5779 := ((0 : α) * t5761)
+  let t5782 := ((((1 : α) * t5758) + t5779) + t2397)
+  let t5784 := ((0 : α) * t5758)
+  let t5786 := ((t5784 + ((1 : α) * t5761)) + t2397)
+  let t5787 := (t5784 + t5779)
+  let t5788 := (t5787 + ((1 : α) * t73))
+  let t5790 := ((0 : α) * t5767)
+  let t5795 := ((0 : α) * t5764)
+  let t5798 := (t5795 + t5790)
+  let t5819 := ((((((((1 : α) * t5752) + t5768) + t89) * m.x02) + (((t5773 + ((1 : α) * t5753)) + t89) * m.x12)) + ((t5776 + ((1 : α) * t72)) * m.x22)) + ((t5776 + t89) * (0 : α)))
+  let t5827 := ((t5787 + t2397) * (0 : α))
+  let t5845 := ((((t5782 * m.x02) + (t5786 * m.x12)) + (t5788 * m.x22)) + t5827)
+  (⟨((atan2 ((((t5782 * m.x00) + (t5786 * m.x10)) + (t5788 * m.x20)) + t5827) ((((t5782 * m.x01) + (t5786 * m.x11)) + (t5788 * m.x21)) + t5827)) * (-(1 : α))), ((atan2 (sqrt ((t5845 * t5845) + (t5819 * t5819))) ((((((((1 : α) * t5764) + t5790) + t95) * m.x02) + (((t5795 + ((1 : α) * t5767)) + t95) * m.x12)) + ((t5798 + ((1 : α) * t70)) * m.x22)) + ((t5798 + t95) * (0 : α)))) * (-(1 : α))), (t5749 * (-(1 : α)))⟩, (8208 : Int))
 
 /-- extracted from the C++ template at T = Sym; 1 path(s) -/
 def Euler.ctorM44_XYXr {α : Type} [Add α] [Mul α] [Neg α] [OfNat α 0] [OfNat α 1] (sqrt : α → α) (sin : α → α) (cos : α → α) (atan2 : α → α → α) (m : M44 α) : ((V3 α) × Int) :=
@@ -7634,35 +6219,35 @@ def Euler.ctorM44_XYXr {α : Type} [Add α] [Mul α] [Neg α] [OfNat α 0] [OfNa
   let t73 := (t66 * t68)
   let t89 := ((0 : α) * t72)
   let t95 := ((0 : α) * t70)
-  let t2422 := ((0 : α) * t73)
-  let t5793 := (atan2 m.x12 m.x02)
-  let t5794 := (cos t5793)
-  let t5795 := (sin t5793)
-  let t5796 := (t5794 * t66)
-  let t5797 := (t5795 * t66)
-  let t5798 := (t5794 * t68)
-  let t5800 := (-t5795)
-  let t5802 := ((t5800 * t66) + (t5798 * t68))
-  let t5803 := (t5795 * t68)
-  let t5805 := (t5796 + (t5803 * t68))
-  let t5808 := ((t5800 * t72) + (t5798 * t66))
-  let t5811 := ((t5794 * t72) + (t5803 * t66))
-  let t5812 := ((0 : α) * t5797)
-  let t5817 := ((0 : α) * t5796)
-  let t5820 := (t5817 + t5812)
-  let t5823 := ((0 : α) * t5805)
-  let t5826 := ((((1 : α) * t5802) + t5823) + t2422)
-  let t5828 := ((0 : α) * t5802)
-  let t5830 := ((t5828 + ((1 : α) * t5805)) + t2422)
-  let t5831 := (t5828 + t5823)
-  let t5832 := (t5831 + ((1 : α) * t73))
-  let t5833 := (t5831 + t2422)
-  let t5834 := ((0 : α) * t5811)
-  let t5839 := ((0 : α) * t5808)
-  let t5842 := (t5839 + t5834)
-  let t5937 := ((((((((1 : α) * t5796) + t5812) + t89) * m.x02) + (((t5817 + ((1 : α) * t5797)) + t89) * m.x12)) + ((t5820 + ((1 : α) * t72)) * m.x22)) + ((t5820 + t89) * m.x32))
-  let t5950 := ((((t5826 * m.x02) + (t5830 * m.x12)) + (t5832 * m.x22)) + (t5833 * m.x32))
-  (⟨((atan2 ((((t5826 * m.x00) + (t5830 * m.x10)) + (t5832 * m.x20)) + (t5833 * m.x30)) ((((t5826 * m.x01) + (t5830 * m.x11)) + (t5832 * m.x21)) + (t5833 * m.x31))) * (-(1 : α))), ((atan2 (sqrt ((t5950 * t5950) + (t5937 * t5937))) ((((((((1 : α) * t5808) + t5834) + t95) * m.x02) + (((t5839 + ((1 : α) * t5811)) + t95) * m.x12)) + ((t5842 + ((1 : α) * t70)) * m.x22)) + ((t5842 + t95) * m.x32))) * (-(1 : α))), (t5793 * (-(1 : α)))⟩, (8208 : Int))
+  let t2397 := ((0 : α) * t73)
+  let t5749 := (atan2 m.x12 m.x02)
+  let t5750 := (cos t5749)
+  let t5751 := (sin t5749)
+  let t5752 := (t5750 * t66)
+  let t5753 := (t5751 * t66)
+  let t5754 := (t5750 * t68)
+  let t5756 := (-t5751)
+  let t5758 := ((t5756 * t66) + (t5754 * t68))
+  let t5759 := (t5751 * t68)
+  let t5761 := (t5752 + (t5759 * t68))
+  let t5764 := ((t5756 * t72) + (t5754 * t66))
+  let t5767 := ((t5750 * t72) + (t5759 * t66))
+  let t5768 := ((0 : α) * t5753)
+  let t5773 := ((0 : α) * t5752)
+  let t5776 := (t5773 + t5768)
+  let t5779 := ((0 : α) * t5761)
+  let t5782 := ((((1 : α) * t5758) + t5779) + t2397)
+  let t5784 := ((0 : α) * t5758)
+  let t5786 := ((t5784 + ((1 : α) * t5761)) + t2397)
+  let t5787 := (t5784 + t5779)
+  let t5788 := (t5787 + ((1 : α) * t73))
+  let t5789 := (t5787 + t2397)
+  let t5790 := ((0 : α) * t5767)
+  let t5795 := ((0 : α) * t5764)
+  let t5798 := (t5795 + t5790)
+  let t5893 := ((((((((1 : α) * t5752) + t5768) + t89) * m.x02) + (((t5773 + ((1 : α) * t5753)) + t89) * m.x12)) + ((t5776 + ((1 : α) * t72)) * m.x22)) + ((t5776 + t89) * m.x32))
+  let t5906 := ((((t5782 * m.x02) + (t5786 * m.x12)) + (t5788 * m.x22)) + (t5789 * m.x32))
+  (⟨((atan2 ((((t5782 * m.x00) + (t5786 * m.x10)) + (t5788 * m.x20)) + (t5789 * m.x30)) ((((t5782 * m.x01) + (t5786 * m.x11)) + (t5788 * m.x21)) + (t5789 * m.x31))) * (-(1 : α))), ((atan2 (sqrt ((t5906 * t5906) + (t5893 * t5893))) ((((((((1 : α) * t5764) + t5790) + t95) * m.x02) + (((t5795 + ((1 : α) * t5767)) + t95) * m.x12)) + ((t5798 + ((1 : α) * t70)) * m.x22)) + ((t5798 + t95) * m.x32))) * (-(1 : α))), (t5749 * (-(1 : α)))⟩, (8208 : Int))
 
 /-- extracted from the C++ template at T = Sym; 1 path(s) -/
 def Euler.extractQuat_XYXr {α : Type} [Add α] [Sub α] [Mul α] [Neg α] [OfNat α 0] [OfNat α 1] [OfNat α 2] (sqrt : α → α) (sin : α → α) (cos : α → α) (atan2 : α → α → α) (q : Quat α) : (V3 α) :=
@@ -7673,47 +6258,47 @@ def Euler.extractQuat_XYXr {α : Type} [Add α] [Sub α] [Mul α] [Neg α] [OfNa
   let t73 := (t66 * t68)
   let t89 := ((0 : α) * t72)
   let t95 := ((0 : α) * t70)
-  let t309 := (q.v.x * q.v.x)
-  let t310 := (q.v.y * q.v.y)
-  let t314 := ((1 : α) - ((2 : α) * (t310 + t309)))
-  let t315 := (q.v.x * q.r)
-  let t316 := (q.v.y * q.v.z)
-  let t319 := (q.v.y * q.r)
-  let t320 := (q.v.z * q.v.x)
-  let t324 := ((2 : α) * (t316 + t315))
-  let t325 := (q.v.z * q.v.z)
-  let t329 := (q.v.z * q.r)
-  let t330 := (q.v.x * q.v.y)
-  let t334 := ((2 : α) * (t320 - t319))
-  let t2422 := ((0 : α) * t73)
-  let t5979 := (atan2 t324 t334)
-  let t5980 := (cos t5979)
-  let t5981 := (sin t5979)
-  let t5982 := (t5980 * t66)
-  let t5983 := (t5981 * t66)
-  let t5984 := (t5980 * t68)
-  let t5986 := (-t5981)
-  let t5988 := ((t5986 * t66) + (t5984 * t68))
-  let t5989 := (t5981 * t68)
-  let t5991 := (t5982 + (t5989 * t68))
-  let t5994 := ((t5986 * t72) + (t5984 * t66))
-  let t5997 := ((t5980 * t72) + (t5989 * t66))
-  let t5998 := ((0 : α) * t5983)
-  let t6003 := ((0 : α) * t5982)
-  let t6006 := (t6003 + t5998)
-  let t6009 := ((0 : α) * t5991)
-  let t6012 := ((((1 : α) * t5988) + t6009) + t2422)
-  let t6014 := ((0 : α) * t5988)
-  let t6016 := ((t6014 + ((1 : α) * t5991)) + t2422)
-  let t6017 := (t6014 + t6009)
-  let t6018 := (t6017 + ((1 : α) * t73))
-  let t6020 := ((0 : α) * t5997)
-  let t6025 := ((0 : α) * t5994)
-  let t6028 := (t6025 + t6020)
-  let t6049 := ((((((((1 : α) * t5982) + t5998) + t89) * t334) + (((t6003 + ((1 : α) * t5983)) + t89) * t324)) + ((t6006 + ((1 : α) * t72)) * t314)) + ((t6006 + t89) * (0 : α)))
-  let t6057 := ((t6017 + t2422) * (0 : α))
-  let t6075 := ((((t6012 * t334) + (t6016 * t324)) + (t6018 * t314)) + t6057)
-  ⟨((atan2 ((((t6012 * ((1 : α) - ((2 : α) * (t310 + t325)))) + (t6016 * ((2 : α) * (t330 - t329)))) + (t6018 * ((2 : α) * (t320 + t319)))) + t6057) ((((t6012 * ((2 : α) * (t330 + t329))) + (t6016 * ((1 : α) - ((2 : α) * (t325 + t309))))) + (t6018 * ((2 : α) * (t316 - t315)))) + t6057)) * (-(1 : α))), ((atan2 (sqrt ((t6075 * t6075) + (t6049 * t6049))) ((((((((1 : α) * t5994) + t6020) + t95) * t334) + (((t6025 + ((1 : α) * t5997)) + t95) * t324)) + ((t6028 + ((1 : α) * t70)) * t314)) + ((t6028 + t95) * (0 : α)))) * (-(1 : α))), (t5979 * (-(1 : α)))⟩
+  let t306 := (q.v.x * q.v.x)
+  let t307 := (q.v.y * q.v.y)
+  let t311 := ((1 : α) - ((2 : α) * (t307 + t306)))
+  let t312 := (q.v.x * q.r)
+  let t313 := (q.v.y * q.v.z)
+  let t316 := (q.v.y * q.r)
+  let t317 := (q.v.z * q.v.x)
+  let t321 := ((2 : α) * (t313 + t312))
+  let t322 := (q.v.z * q.v.z)
+  let t326 := (q.v.z * q.r)
+  let t327 := (q.v.x * q.v.y)
+  let t331 := ((2 : α) * (t317 - t316))
+  let t2397 := ((0 : α) * t73)
+  let t5935 := (atan2 t321 t331)
+  let t5936 := (cos t5935)
+  let t5937 := (sin t5935)
+  let t5938 := (t5936 * t66)
+  let t5939 := (t5937 * t66)
+  let t5940 := (t5936 * t68)
+  let t5942 := (-t5937)
+  let t5944 := ((t5942 * t66) + (t5940 * t68))
+  let t5945 := (t5937 * t68)
+  let t5947 := (t5938 + (t5945 * t68))
+  let t5950 := ((t5942 * t72) + (t5940 * t66))
+  let t5953 := ((t5936 * t72) + (t5945 * t66))
+  let t5954 := ((0 : α) * t5939)
+  let t5959 := ((0 : α) * t5938)
+  let t5962 := (t5959 + t5954)
+  let t5965 := ((0 : α) * t5947)
+  let t5968 := ((((1 : α) * t5944) + t5965) + t2397)
+  let t5970 := ((0 : α) * t5944)
+  let t5972 := ((t5970 + ((1 : α) * t5947)) + t2397)
+  let t5973 := (t5970 + t5965)
+  let t5974 := (t5973 + ((1 : α) * t73))
+  let t5976 := ((0 : α) * t5953)
+  let t5981 := ((0 : α) * t5950)
+  let t5984 := (t5981 + t5976)
+  let t6005 := ((((((((1 : α) * t5938) + t5954) + t89) * t331) + (((t5959 + ((1 : α) * t5939)) + t89) * t321)) + ((t5962 + ((1 : α) * t72)) * t311)) + ((t5962 + t89) * (0 : α)))
+  let t6013 := ((t5973 + t2397) * (0 : α))
+  let t6031 := ((((t5968 * t331) + (t5972 * t321)) + (t5974 * t311)) + t6013)
+  ⟨((atan2 ((((t5968 * ((1 : α) - ((2 : α) * (t307 + t322)))) + (t5972 * ((2 : α) * (t327 - t326)))) + (t5974 * ((2 : α) * (t317 + t316)))) + t6013) ((((t5968 * ((2 : α) * (t327 + t326))) + (t5972 * ((1 : α) - ((2 : α) * (t322 + t306))))) + (t5974 * ((2 : α) * (t313 - t312)))) + t6013)) * (-(1 : α))), ((atan2 (sqrt ((t6031 * t6031) + (t6005 * t6005))) ((((((((1 : α) * t5950) + t5976) + t95) * t331) + (((t5981 + ((1 : α) * t5953)) + t95) * t321)) + ((t5984 + ((1 : α) * t70)) * t311)) + ((t5984 + t95) * (0 : α)))) * (-(1 : α))), (t5935 * (-(1 : α)))⟩
 
 /-- extracted from the C++ template at T = Sym; 1 path(s) -/
 def Euler.ctorXYZLayout_XYXr {α : Type} (v : V3 α) : ((V3 α) × Int) :=
@@ -7777,35 +6362,35 @@ def Euler.reorderFromXYZ_XYXr {α : Type} [Add α] [Sub α] [Mul α] [Neg α] [O
   let t73 := (t66 * t68)
   let t89 := ((0 : α) * t72)
   let t95 := ((0 : α) * t70)
-  let t2422 := ((0 : α) * t73)
-  let t6118 := (atan2 t26 t25)
-  let t6119 := (cos t6118)
-  let t6120 := (sin t6118)
-  let t6121 := (t6119 * t66)
-  let t6122 := (t6120 * t66)
-  let t6123 := (t6119 * t68)
-  let t6125 := (-t6120)
-  let t6127 := ((t6125 * t66) + (t6123 * t68))
-  let t6128 := (t6120 * t68)
-  let t6130 := (t6121 + (t6128 * t68))
-  let t6133 := ((t6125 * t72) + (t6123 * t66))
-  let t6136 := ((t6119 * t72) + (t6128 * t66))
-  let t6137 := ((0 : α) * t6122)
-  let t6142 := ((0 : α) * t6121)
-  let t6145 := (t6142 + t6137)
-  let t6148 := ((0 : α) * t6130)
-  let t6151 := ((((1 : α) * t6127) + t6148) + t2422)
-  let t6153 := ((0 : α) * t6127)
-  let t6155 := ((t6153 + ((1 : α) * t6130)) + t2422)
-  let t6156 := (t6153 + t6148)
-  let t6157 := (t6156 + ((1 : α) * t73))
-  let t6159 := ((0 : α) * t6136)
-  let t6164 := ((0 : α) * t6133)
-  let t6167 := (t6164 + t6159)
-  let t6188 := ((((((((1 : α) * t6121) + t6137) + t89) * t25) + (((t6142 + ((1 : α) * t6122)) + t89) * t26)) + ((t6145 + ((1 : α) * t72)) * t27)) + ((t6145 + t89) * (0 : α)))
-  let t6196 := ((t6156 + t2422) * (0 : α))
-  let t6214 := ((((t6151 * t25) + (t6155 * t26)) + (t6157 * t27)) + t6196)
-  (⟨((atan2 ((((t6151 * (t5 * t6)) + (t6155 * ((t8 * t12) - t11))) + (t6157 * ((t8 * t10) + t13))) + t6196) ((((t6151 * (t5 * t9)) + (t6155 * ((t8 * t13) + t10))) + (t6157 * ((t8 * t11) - t12))) + t6196)) * (-(1 : α))), ((atan2 (sqrt ((t6214 * t6214) + (t6188 * t6188))) ((((((((1 : α) * t6133) + t6159) + t95) * t25) + (((t6164 + ((1 : α) * t6136)) + t95) * t26)) + ((t6167 + ((1 : α) * t70)) * t27)) + ((t6167 + t95) * (0 : α)))) * (-(1 : α))), (t6118 * (-(1 : α)))⟩, (8208 : Int))
+  let t2397 := ((0 : α) * t73)
+  let t6074 := (atan2 t26 t25)
+  let t6075 := (cos t6074)
+  let t6076 := (sin t6074)
+  let t6077 := (t6075 * t66)
+  let t6078 := (t6076 * t66)
+  let t6079 := (t6075 * t68)
+  let t6081 := (-t6076)
+  let t6083 := ((t6081 * t66) + (t6079 * t68))
+  let t6084 := (t6076 * t68)
+  let t6086 := (t6077 + (t6084 * t68))
+  let t6089 := ((t6081 * t72) + (t6079 * t66))
+  let t6092 := ((t6075 * t72) + (t6084 * t66))
+  let t6093 := ((0 : α) * t6078)
+  let t6098 := ((0 : α) * t6077)
+  let t6101 := (t6098 + t6093)
+  let t6104 := ((0 : α) * t6086)
+  let t6107 := ((((1 : α) * t6083) + t6104) + t2397)
+  let t6109 := ((0 : α) * t6083)
+  let t6111 := ((t6109 + ((1 : α) * t6086)) + t2397)
+  let t6112 := (t6109 + t6104)
+  let t6113 := (t6112 + ((1 : α) * t73))
+  let t6115 := ((0 : α) * t6092)
+  let t6120 := ((0 : α) * t6089)
+  let t6123 := (t6120 + t6115)
+  let t6144 := ((((((((1 : α) * t6077) + t6093) + t89) * t25) + (((t6098 + ((1 : α) * t6078)) + t89) * t26)) + ((t6101 + ((1 : α) * t72)) * t27)) + ((t6101 + t89) * (0 : α)))
+  let t6152 := ((t6112 + t2397) * (0 : α))
+  let t6170 := ((((t6107 * t25) + (t6111 * t26)) + (t6113 * t27)) + t6152)
+  (⟨((atan2 ((((t6107 * (t5 * t6)) + (t6111 * ((t8 * t12) - t11))) + (t6113 * ((t8 * t10) + t13))) + t6152) ((((t6107 * (t5 * t9)) + (t6111 * ((t8 * t13) + t10))) + (t6113 * ((t8 * t11) - t12))) + t6152)) * (-(1 : α))), ((atan2 (sqrt ((t6170 * t6170) + (t6144 * t6144))) ((((((((1 : α) * t6089) + t6115) + t95) * t25) + (((t6120 + ((1 : α) * t6092)) + t95) * t26)) + ((t6123 + ((1 : α) * t70)) * t27)) + ((t6123 + t95) * (0 : α)))) * (-(1 : α))), (t6074 * (-(1 : α)))⟩, (8208 : Int))
 
 /-- extracted from the C++ template at T = Sym; 1 path(s) -/
 def Euler.reorderToZYXr_XYXr {α : Type} [Add α] [Sub α] [Mul α] [Neg α] [OfNat α 0] [OfNat α 1] (sqrt : α → α) (sin : α → α) (cos : α → α) (atan2 : α → α → α) (a : V3 α) : ((V3 α) × Int) :=
@@ -7822,45 +6407,26 @@ def Euler.reorderToZYXr_XYXr {α : Type} [Add α] [Sub α] [Mul α] [Neg α] [Of
   let t99 := (t95 + t90)
   let t100 := (t99 + ((1 : α) * t72))
   let t128 := ((t99 + t89) * (0 : α))
-  let t627 := (a.x * (-(1 : α)))
-  let t628 := (a.y * (-(1 : α)))
-  let t629 := (a.z * (-(1 : α)))
-  let t630 := (cos t627)
-  let t631 := (cos t628)
-  let t632 := (cos t629)
-  let t633 := (sin t627)
-  let t634 := (sin t628)
-  let t635 := (sin t629)
-  let t3577 := (t634 * t633)
-  let t3579 := (t634 * t635)
-  let t3580 := (-t631)
-  let t6975 := (t632 * t630)
-  let t6976 := (t632 * t633)
-  let t6977 := (t635 * t630)
-  let t6978 := (t635 * t633)
-  let t7948 := ((t3580 * t6978) + t6975)
-  let t7950 := ((t3580 * t6976) - t6977)
-  let t7951 := ((-t634) * t630)
-  let t7953 := ((t631 * t6977) + t6976)
-  let t7955 := ((t631 * t6975) - t6978)
-  let t7961 := (atan2 t3579 t631)
-  let t7962 := (-t7961)
-  let t7963 := (cos t7962)
-  let t7964 := (sin t7962)
-  let t7967 := ((t72 * t7963) + ((t66 * t68) * t7964))
-  let t7970 := ((t66 * t7963) + ((t68 * t68) * t7964))
-  let t7971 := (t66 * t7964)
-  let t7979 := ((0 : α) * t7971)
-  let t7980 := ((0 : α) * t7970)
-  let t7983 := ((((1 : α) * t7967) + t7980) + t7979)
-  let t7985 := ((0 : α) * t7967)
-  let t7987 := ((t7985 + ((1 : α) * t7970)) + t7979)
-  let t7989 := (t7985 + t7980)
-  let t7990 := (t7989 + ((1 : α) * t7971))
-  let t8010 := ((((t93 * t7955) + (t97 * t7953)) + (t100 * t7951)) + t128)
-  let t8015 := ((((t93 * t7950) + (t97 * t7948)) + (t100 * t3577)) + t128)
-  let t8020 := ((t7989 + t7979) * (0 : α))
-  (⟨(atan2 (-((((t7983 * t7955) + (t7987 * t7953)) + (t7990 * t7951)) + t8020)) ((((t7983 * t7950) + (t7987 * t7948)) + (t7990 * t3577)) + t8020)), (atan2 (-((((t93 * (t634 * t632)) + (t97 * t3579)) + (t100 * t631)) + t128)) (sqrt ((t8010 * t8010) + (t8015 * t8015)))), t7961⟩, (256 : Int))
+  let t622 := (a.x * (-(1 : α)))
+  let t623 := (a.y * (-(1 : α)))
+  let t624 := (a.z * (-(1 : α)))
+  let t625 := (cos t622)
+  let t626 := (cos t623)
+  let t627 := (cos t624)
+  let t628 := (sin t622)
+  let t629 := (sin t623)
+  let t630 := (sin t624)
+  let t3539 := (t629 * t630)
+  let t3540 := (-t626)
+  let t6929 := (t627 * t625)
+  let t6930 := (t627 * t628)
+  let t6931 := (t630 * t625)
+  let t6932 := (t630 * t628)
+  let t7893 := ((t3540 * t6930) - t6931)
+  let t7898 := ((t626 * t6929) - t6932)
+  let t7953 := ((((t93 * t7898) + (t97 * ((t626 * t6931) + t6930))) + (t100 * ((-t629) * t625))) + t128)
+  let t7958 := ((((t93 * t7893) + (t97 * ((t3540 * t6932) + t6929))) + (t100 * (t629 * t628))) + t128)
+  (⟨(atan2 t7893 t7898), (atan2 (-((((t93 * (t629 * t627)) + (t97 * t3539)) + (t100 * t626)) + t128)) (sqrt ((t7953 * t7953) + (t7958 * t7958)))), (atan2 t3539 t626)⟩, (256 : Int))
 
 /-- extracted from the C++ template at T = Sym; 1 path(s) -/
 def Euler.toMatrix33_YXYr {α : Type} [Add α] [Sub α] [Mul α] [Neg α] (sin : α → α) (cos : α → α) (a : V3 α) : (M33 α) :=
@@ -7870,12 +6436,12 @@ def Euler.toMatrix33_YXYr {α : Type} [Add α] [Sub α] [Mul α] [Neg α] (sin :
   let t7 := (sin a.x)
   let t8 := (sin a.y)
   let t9 := (sin a.z)
-  let t4088 := (-t5)
-  let t7134 := (t6 * t4)
-  let t7135 := (t6 * t7)
-  let t7136 := (t9 * t4)
-  let t7137 := (t9 * t7)
-  ⟨((t5 * t7134) - t7137), (t8 * t6), ((t4088 * t7135) - t7136), ((-t8) * t4), t5, (t8 * t7), ((t5 * t7136) + t7135), (t8 * t9), ((t4088 * t7137) + t7134)⟩
+  let t4047 := (-t5)
+  let t7087 := (t6 * t4)
+  let t7088 := (t6 * t7)
+  let t7089 := (t9 * t4)
+  let t7090 := (t9 * t7)
+  ⟨((t5 * t7087) - t7090), (t8 * t6), ((t4047 * t7088) - t7089), ((-t8) * t4), t5, (t8 * t7), ((t5 * t7089) + t7088), (t8 * t9), ((t4047 * t7090) + t7087)⟩
 
 /-- extracted from the C++ template at T = Sym; 1 path(s) -/
 def Euler.toMatrix44_YXYr {α : Type} [Add α] [Sub α] [Mul α] [Neg α] [OfNat α 0] [OfNat α 1] (sin : α → α) (cos : α → α) (a : V3 α) : (M44 α) :=
@@ -7885,12 +6451,12 @@ def Euler.toMatrix44_YXYr {α : Type} [Add α] [Sub α] [Mul α] [Neg α] [OfNat
   let t7 := (sin a.x)
   let t8 := (sin a.y)
   let t9 := (sin a.z)
-  let t4088 := (-t5)
-  let t7134 := (t6 * t4)
-  let t7135 := (t6 * t7)
-  let t7136 := (t9 * t4)
-  let t7137 := (t9 * t7)
-  ⟨((t5 * t7134) - t7137), (t8 * t6), ((t4088 * t7135) - t7136), (0 : α), ((-t8) * t4), t5, (t8 * t7), (0 : α), ((t5 * t7136) + t7135), (t8 * t9), ((t4088 * t7137) + t7134), (0 : α), (0 : α), (0 : α), (0 : α), (1 : α)⟩
+  let t4047 := (-t5)
+  let t7087 := (t6 * t4)
+  let t7088 := (t6 * t7)
+  let t7089 := (t9 * t4)
+  let t7090 := (t9 * t7)
+  ⟨((t5 * t7087) - t7090), (t8 * t6), ((t4047 * t7088) - t7089), (0 : α), ((-t8) * t4), t5, (t8 * t7), (0 : α), ((t5 * t7089) + t7088), (t8 * t9), ((t4047 * t7090) + t7087), (0 : α), (0 : α), (0 : α), (0 : α), (1 : α)⟩
 
 /-- extracted from the C++ template at T = Sym; 1 path(s) -/
 def Euler.toQuat_YXYr {α : Type} [Add α] [Sub α] [Mul α] [Div α] [OfNat α 1] [OfNat α 2] (sin : α → α) (cos : α → α) (a : V3 α) : (Quat α) :=
@@ -7903,223 +6469,223 @@ def Euler.toQuat_YXYr {α : Type} [Add α] [Sub α] [Mul α] [Div α] [OfNat α 
   let t35 := (sin t29)
   let t36 := (sin t30)
   let t37 := (sin t31)
-  let t6987 := (t34 * t32)
-  let t6988 := (t34 * t35)
-  let t6989 := (t37 * t32)
-  let t6990 := (t37 * t35)
-  ⟨(t33 * (t6987 - t6990)), ⟨(t36 * (t6988 - t6989)), (t33 * (t6988 + t6989)), ((t36 * (t6987 + t6990)) * (1 : α))⟩⟩
+  let t6941 := (t34 * t32)
+  let t6942 := (t34 * t35)
+  let t6943 := (t37 * t32)
+  let t6944 := (t37 * t35)
+  ⟨(t33 * (t6941 - t6944)), ⟨(t36 * (t6942 - t6943)), (t33 * (t6942 + t6943)), ((t36 * (t6941 + t6944)) * (1 : α))⟩⟩
 
 /-- extracted from the C++ template at T = Sym; 1 path(s) -/
 def Euler.extractM33_YXYr {α : Type} [Add α] [Mul α] [Neg α] [OfNat α 0] [OfNat α 1] (sqrt : α → α) (sin : α → α) (cos : α → α) (atan2 : α → α → α) (m : M33 α) : (V3 α) :=
   let t66 := (cos (0 : α))
   let t68 := (sin (0 : α))
   let t72 := (-t68)
-  let t5191 := (atan2 m.x21 m.x01)
-  let t5192 := (-t5191)
-  let t5193 := (cos t5192)
-  let t5194 := (sin t5192)
-  let t5195 := (t66 * t5193)
-  let t5196 := (t68 * t5193)
-  let t5197 := (-t5194)
-  let t5198 := (t66 * t5194)
-  let t5200 := ((t72 * t66) + (t5198 * t68))
-  let t5201 := (t68 * t5194)
-  let t5203 := ((t66 * t66) + (t5201 * t68))
-  let t5204 := (t5193 * t68)
-  let t5206 := ((t72 * t72) + (t5198 * t66))
-  let t5208 := ((t66 * t72) + (t5201 * t66))
-  let t5209 := (t5193 * t66)
-  let t5210 := ((0 : α) * t5197)
-  let t5211 := ((0 : α) * t5196)
-  let t5216 := ((0 : α) * t5195)
-  let t5220 := (t5216 + t5211)
-  let t5223 := ((0 : α) * t5204)
-  let t5224 := ((0 : α) * t5203)
-  let t5229 := ((0 : α) * t5200)
-  let t5233 := (t5229 + t5224)
-  let t5236 := ((0 : α) * t5209)
-  let t5237 := ((0 : α) * t5208)
-  let t5240 := ((((1 : α) * t5206) + t5237) + t5236)
-  let t5242 := ((0 : α) * t5206)
-  let t5244 := ((t5242 + ((1 : α) * t5208)) + t5236)
-  let t5246 := (t5242 + t5237)
-  let t5247 := (t5246 + ((1 : α) * t5209))
-  let t5261 := ((((((((1 : α) * t5195) + t5211) + t5210) * m.x01) + (((t5216 + ((1 : α) * t5196)) + t5210) * m.x11)) + ((t5220 + ((1 : α) * t5197)) * m.x21)) + ((t5220 + t5210) * (0 : α)))
-  let t5301 := ((t5246 + t5236) * (0 : α))
-  let t5313 := ((((t5240 * m.x01) + (t5244 * m.x11)) + (t5247 * m.x21)) + t5301)
-  ⟨(atan2 ((((t5240 * m.x00) + (t5244 * m.x10)) + (t5247 * m.x20)) + t5301) ((((t5240 * m.x02) + (t5244 * m.x12)) + (t5247 * m.x22)) + t5301)), (atan2 (sqrt ((t5313 * t5313) + (t5261 * t5261))) ((((((((1 : α) * t5200) + t5224) + t5223) * m.x01) + (((t5229 + ((1 : α) * t5203)) + t5223) * m.x11)) + ((t5233 + ((1 : α) * t5204)) * m.x21)) + ((t5233 + t5223) * (0 : α)))), t5191⟩
+  let t5148 := (atan2 m.x21 m.x01)
+  let t5149 := (-t5148)
+  let t5150 := (cos t5149)
+  let t5151 := (sin t5149)
+  let t5152 := (t66 * t5150)
+  let t5153 := (t68 * t5150)
+  let t5154 := (-t5151)
+  let t5155 := (t66 * t5151)
+  let t5157 := ((t72 * t66) + (t5155 * t68))
+  let t5158 := (t68 * t5151)
+  let t5160 := ((t66 * t66) + (t5158 * t68))
+  let t5161 := (t5150 * t68)
+  let t5163 := ((t72 * t72) + (t5155 * t66))
+  let t5165 := ((t66 * t72) + (t5158 * t66))
+  let t5166 := (t5150 * t66)
+  let t5167 := ((0 : α) * t5154)
+  let t5168 := ((0 : α) * t5153)
+  let t5173 := ((0 : α) * t5152)
+  let t5177 := (t5173 + t5168)
+  let t5180 := ((0 : α) * t5161)
+  let t5181 := ((0 : α) * t5160)
+  let t5186 := ((0 : α) * t5157)
+  let t5190 := (t5186 + t5181)
+  let t5193 := ((0 : α) * t5166)
+  let t5194 := ((0 : α) * t5165)
+  let t5197 := ((((1 : α) * t5163) + t5194) + t5193)
+  let t5199 := ((0 : α) * t5163)
+  let t5201 := ((t5199 + ((1 : α) * t5165)) + t5193)
+  let t5203 := (t5199 + t5194)
+  let t5204 := (t5203 + ((1 : α) * t5166))
+  let t5218 := ((((((((1 : α) * t5152) + t5168) + t5167) * m.x01) + (((t5173 + ((1 : α) * t5153)) + t5167) * m.x11)) + ((t5177 + ((1 : α) * t5154)) * m.x21)) + ((t5177 + t5167) * (0 : α)))
+  let t5258 := ((t5203 + t5193) * (0 : α))
+  let t5270 := ((((t5197 * m.x01) + (t5201 * m.x11)) + (t5204 * m.x21)) + t5258)
+  ⟨(atan2 ((((t5197 * m.x00) + (t5201 * m.x10)) + (t5204 * m.x20)) + t5258) ((((t5197 * m.x02) + (t5201 * m.x12)) + (t5204 * m.x22)) + t5258)), (atan2 (sqrt ((t5270 * t5270) + (t5218 * t5218))) ((((((((1 : α) * t5157) + t5181) + t5180) * m.x01) + (((t5186 + ((1 : α) * t5160)) + t5180) * m.x11)) + ((t5190 + ((1 : α) * t5161)) * m.x21)) + ((t5190 + t5180) * (0 : α)))), t5148⟩
 
 /-- extracted from the C++ template at T = Sym; 1 path(s) -/
 def Euler.extractM44_YXYr {α : Type} [Add α] [Mul α] [Neg α] [OfNat α 0] [OfNat α 1] (sqrt : α → α) (sin : α → α) (cos : α → α) (atan2 : α → α → α) (m : M44 α) : (V3 α) :=
   let t66 := (cos (0 : α))
   let t68 := (sin (0 : α))
   let t72 := (-t68)
-  let t5191 := (atan2 m.x21 m.x01)
-  let t5192 := (-t5191)
-  let t5193 := (cos t5192)
-  let t5194 := (sin t5192)
-  let t5195 := (t66 * t5193)
-  let t5196 := (t68 * t5193)
-  let t5197 := (-t5194)
-  let t5198 := (t66 * t5194)
-  let t5200 := ((t72 * t66) + (t5198 * t68))
-  let t5201 := (t68 * t5194)
-  let t5203 := ((t66 * t66) + (t5201 * t68))
-  let t5204 := (t5193 * t68)
-  let t5206 := ((t72 * t72) + (t5198 * t66))
-  let t5208 := ((t66 * t72) + (t5201 * t66))
-  let t5209 := (t5193 * t66)
-  let t5210 := ((0 : α) * t5197)
-  let t5211 := ((0 : α) * t5196)
-  let t5216 := ((0 : α) * t5195)
-  let t5220 := (t5216 + t5211)
-  let t5223 := ((0 : α) * t5204)
-  let t5224 := ((0 : α) * t5203)
-  let t5229 := ((0 : α) * t5200)
-  let t5233 := (t5229 + t5224)
-  let t5236 := ((0 : α) * t5209)
-  let t5237 := ((0 : α) * t5208)
-  let t5240 := ((((1 : α) * t5206) + t5237) + t5236)
-  let t5242 := ((0 : α) * t5206)
-  let t5244 := ((t5242 + ((1 : α) * t5208)) + t5236)
-  let t5246 := (t5242 + t5237)
-  let t5247 := (t5246 + ((1 : α) * t5209))
-  let t5248 := (t5246 + t5236)
-  let t5336 := ((((((((1 : α) * t5195) + t5211) + t5210) * m.x01) + (((t5216 + ((1 : α) * t5196)) + t5210) * m.x11)) + ((t5220 + ((1 : α) * t5197)) * m.x21)) + ((t5220 + t5210) * m.x31))
-  let t5362 := ((((t5240 * m.x01) + (t5244 * m.x11)) + (t5247 * m.x21)) + (t5248 * m.x31))
-  ⟨(atan2 ((((t5240 * m.x00) + (t5244 * m.x10)) + (t5247 * m.x20)) + (t5248 * m.x30)) ((((t5240 * m.x02) + (t5244 * m.x12)) + (t5247 * m.x22)) + (t5248 * m.x32))), (atan2 (sqrt ((t5362 * t5362) + (t5336 * t5336))) ((((((((1 : α) * t5200) + t5224) + t5223) * m.x01) + (((t5229 + ((1 : α) * t5203)) + t5223) * m.x11)) + ((t5233 + ((1 : α) * t5204)) * m.x21)) + ((t5233 + t5223) * m.x31))), t5191⟩
+  let t5148 := (atan2 m.x21 m.x01)
+  let t5149 := (-t5148)
+  let t5150 := (cos t5149)
+  let t5151 := (sin t5149)
+  let t5152 := (t66 * t5150)
+  let t5153 := (t68 * t5150)
+  let t5154 := (-t5151)
+  let t5155 := (t66 * t5151)
+  let t5157 := ((t72 * t66) + (t5155 * t68))
+  let t5158 := (t68 * t5151)
+  let t5160 := ((t66 * t66) + (t5158 * t68))
+  let t5161 := (t5150 * t68)
+  let t5163 := ((t72 * t72) + (t5155 * t66))
+  let t5165 := ((t66 * t72) + (t5158 * t66))
+  let t5166 := (t5150 * t66)
+  let t5167 := ((0 : α) * t5154)
+  let t5168 := ((0 : α) * t5153)
+  let t5173 := ((0 : α) * t5152)
+  let t5177 := (t5173 + t5168)
+  let t5180 := ((0 : α) * t5161)
+  let t5181 := ((0 : α) * t5160)
+  let t5186 := ((0 : α) * t5157)
+  let t5190 := (t5186 + t5181)
+  let t5193 := ((0 : α) * t5166)
+  let t5194 := ((0 : α) * t5165)
+  let t5197 := ((((1 : α) * t5163) + t5194) + t5193)
+  let t5199 := ((0 : α) * t5163)
+  let t5201 := ((t5199 + ((1 : α) * t5165)) + t5193)
+  let t5203 := (t5199 + t5194)
+  let t5204 := (t5203 + ((1 : α) * t5166))
+  let t5205 := (t5203 + t5193)
+  let t5293 := ((((((((1 : α) * t5152) + t5168) + t5167) * m.x01) + (((t5173 + ((1 : α) * t5153)) + t5167) * m.x11)) + ((t5177 + ((1 : α) * t5154)) * m.x21)) + ((t5177 + t5167) * m.x31))
+  let t5319 := ((((t5197 * m.x01) + (t5201 * m.x11)) + (t5204 * m.x21)) + (t5205 * m.x31))
+  ⟨(atan2 ((((t5197 * m.x00) + (t5201 * m.x10)) + (t5204 * m.x20)) + (t5205 * m.x30)) ((((t5197 * m.x02) + (t5201 * m.x12)) + (t5204 * m.x22)) + (t5205 * m.x32))), (atan2 (sqrt ((t5319 * t5319) + (t5293 * t5293))) ((((((((1 : α) * t5157) + t5181) + t5180) * m.x01) + (((t5186 + ((1 : α) * t5160)) + t5180) * m.x11)) + ((t5190 + ((1 : α) * t5161)) * m.x21)) + ((t5190 + t5180) * m.x31))), t5148⟩
 
 /-- extracted from the C++ template at T = Sym; 1 path(s) -/
 def Euler.ctorM33_YXYr {α : Type} [Add α] [Mul α] [Neg α] [OfNat α 0] [OfNat α 1] (sqrt : α → α) (sin : α → α) (cos : α → α) (atan2 : α → α → α) (m : M33 α) : ((V3 α) × Int) :=
   let t66 := (cos (0 : α))
   let t68 := (sin (0 : α))
   let t72 := (-t68)
-  let t5191 := (atan2 m.x21 m.x01)
-  let t5192 := (-t5191)
-  let t5193 := (cos t5192)
-  let t5194 := (sin t5192)
-  let t5195 := (t66 * t5193)
-  let t5196 := (t68 * t5193)
-  let t5197 := (-t5194)
-  let t5198 := (t66 * t5194)
-  let t5200 := ((t72 * t66) + (t5198 * t68))
-  let t5201 := (t68 * t5194)
-  let t5203 := ((t66 * t66) + (t5201 * t68))
-  let t5204 := (t5193 * t68)
-  let t5206 := ((t72 * t72) + (t5198 * t66))
-  let t5208 := ((t66 * t72) + (t5201 * t66))
-  let t5209 := (t5193 * t66)
-  let t5210 := ((0 : α) * t5197)
-  let t5211 := ((0 : α) * t5196)
-  let t5216 := ((0 : α) * t5195)
-  let t5220 := (t5216 + t5211)
-  let t5223 := ((0 : α) * t5204)
-  let t5224 := ((0 : α) * t5203)
-  let t5229 := ((0 : α) * t5200)
-  let t5233 := (t5229 + t5224)
-  let t5236 := ((0 : α) * t5209)
-  let t5237 := ((0 : α) * t5208)
-  let t5240 := ((((1 : α) * t5206) + t5237) + t5236)
-  let t5242 := ((0 : α) * t5206)
-  let t5244 := ((t5242 + ((1 : α) * t5208)) + t5236)
-  let t5246 := (t5242 + t5237)
-  let t5247 := (t5246 + ((1 : α) * t5209))
-  let t5261 := ((((((((1 : α) * t5195) + t5211) + t5210) * m.x01) + (((t5216 + ((1 : α) * t5196)) + t5210) * m.x11)) + ((t5220 + ((1 : α) * t5197)) * m.x21)) + ((t5220 + t5210) * (0 : α)))
-  let t5301 := ((t5246 + t5236) * (0 : α))
-  let t5313 := ((((t5240 * m.x01) + (t5244 * m.x11)) + (t5247 * m.x21)) + t5301)
-  (⟨(atan2 ((((t5240 * m.x00) + (t5244 * m.x10)) + (t5247 * m.x20)) + t5301) ((((t5240 * m.x02) + (t5244 * m.x12)) + (t5247 * m.x22)) + t5301)), (atan2 (sqrt ((t5313 * t5313) + (t5261 * t5261))) ((((((((1 : α) * t5200) + t5224) + t5223) * m.x01) + (((t5229 + ((1 : α) * t5203)) + t5223) * m.x11)) + ((t5233 + ((1 : α) * t5204)) * m.x21)) + ((t5233 + t5223) * (0 : α)))), t5191⟩, (4368 : Int))
+  let t5148 := (atan2 m.x21 m.x01)
+  let t5149 := (-t5148)
+  let t5150 := (cos t5149)
+  let t5151 := (sin t5149)
+  let t5152 := (t66 * t5150)
+  let t5153 := (t68 * t5150)
+  let t5154 := (-t5151)
+  let t5155 := (t66 * t5151)
+  let t5157 := ((t72 * t66) + (t5155 * t68))
+  let t5158 := (t68 * t5151)
+  let t5160 := ((t66 * t66) + (t5158 * t68))
+  let t5161 := (t5150 * t68)
+  let t5163 := ((t72 * t72) + (t5155 * t66))
+  let t5165 := ((t66 * t72) + (t5158 * t66))
+  let t5166 := (t5150 * t66)
+  let t5167 := ((0 : α) * t5154)
+  let t5168 := ((0 : α) * t5153)
+  let t5173 := ((0 : α) * t5152)
+  let t5177 := (t5173 + t5168)
+  let t5180 := ((0 : α) * t5161)
+  let t5181 := ((0 : α) * t5160)
+  let t5186 := ((0 : α) * t5157)
+  let t5190 := (t5186 + t5181)
+  let t5193 := ((0 : α) * t5166)
+  let t5194 := ((0 : α) * t5165)
+  let t5197 := ((((1 : α) * t5163) + t5194) + t5193)
+  let t5199 := ((0 : α) * t5163)
+  let t5201 := ((t5199 + ((1 : α) * t5165)) + t5193)
+  let t5203 := (t5199 + t5194)
+  let t5204 := (t5203 + ((1 : α) * t5166))
+  let t5218 := ((((((((1 : α) * t5152) + t5168) + t5167) * m.x01) + (((t5173 + ((1 : α) * t5153)) + t5167) * m.x11)) + ((t5177 + ((1 : α) * t5154)) * m.x21)) + ((t5177 + t5167) * (0 : α)))
+  let t5258 := ((t5203 + t5193) * (0 : α))
+  let t5270 := ((((t5197 * m.x01) + (t5201 * m.x11)) + (t5204 * m.x21)) + t5258)
+  (⟨(atan2 ((((t5197 * m.x00) + (t5201 * m.x10)) + (t5204 * m.x20)) + t5258) ((((t5197 * m.x02) + (t5201 * m.x12)) + (t5204 * m.x22)) + t5258)), (atan2 (sqrt ((t5270 * t5270) + (t5218 * t5218))) ((((((((1 : α) * t5157) + t5181) + t5180) * m.x01) + (((t5186 + ((1 : α) * t5160)) + t5180) * m.x11)) + ((t5190 + ((1 : α) * t5161)) * m.x21)) + ((t5190 + t5180) * (0 : α)))), t5148⟩, (4368 : Int))
 
 /-- extracted from the C++ template at T = Sym; 1 path(s) -/
 def Euler.ctorM44_YXYr {α : Type} [Add α] [Mul α] [Neg α] [OfNat α 0] [OfNat α 1] (sqrt : α → α) (sin : α → α) (cos : α → α) (atan2 : α → α → α) (m : M44 α) : ((V3 α) × Int) :=
   let t66 := (cos (0 : α))
   let t68 := (sin (0 : α))
   let t72 := (-t68)
-  let t5191 := (atan2 m.x21 m.x01)
-  let t5192 := (-t5191)
-  let t5193 := (cos t5192)
-  let t5194 := (sin t5192)
-  let t5195 := (t66 * t5193)
-  let t5196 := (t68 * t5193)
-  let t5197 := (-t5194)
-  let t5198 := (t66 * t5194)
-  let t5200 := ((t72 * t66) + (t5198 * t68))
-  let t5201 := (t68 * t5194)
-  let t5203 := ((t66 * t66) + (t5201 * t68))
-  let t5204 := (t5193 * t68)
-  let t5206 := ((t72 * t72) + (t5198 * t66))
-  let t5208 := ((t66 * t72) + (t5201 * t66))
-  let t5209 := (t5193 * t66)
-  let t5210 := ((0 : α) * t5197)
-  let t5211 := ((0 : α) * t5196)
-  let t5216 := ((0 : α) * t5195)
-  let t5220 := (t5216 + t5211)
-  let t5223 := ((0 : α) * t5204)
-  let t5224 := ((0 : α) * t5203)
-  let t5229 := ((0 : α) * t5200)
-  let t5233 := (t5229 + t5224)
-  let t5236 := ((0 : α) * t5209)
-  let t5237 := ((0 : α) * t5208)
-  let t5240 := ((((1 : α) * t5206) + t5237) + t5236)
-  let t5242 := ((0 : α) * t5206)
-  let t5244 := ((t5242 + ((1 : α) * t5208)) + t5236)
-  let t5246 := (t5242 + t5237)
-  let t5247 := (t5246 + ((1 : α) * t5209))
-  let t5248 := (t5246 + t5236)
-  let t5336 := ((((((((1 : α) * t5195) + t5211) + t5210) * m.x01) + (((t5216 + ((1 : α) * t5196)) + t5210) * m.x11)) + ((t5220 + ((1 : α) * t5197)) * m.x21)) + ((t5220 + t5210) * m.x31))
-  let t5362 := ((((t5240 * m.x01) + (t5244 * m.x11)) + (t5247 * m.x21)) + (t5248 * m.x31))
-  (⟨(atan2 ((((t5240 * m.x00) + (t5244 * m.x10)) + (t5247 * m.x20)) + (t5248 * m.x30)) ((((t5240 * m.x02) + (t5244 * m.x12)) + (t5247 * m.x22)) + (t5248 * m.x32))), (atan2 (sqrt ((t5362 * t5362) + (t5336 * t5336))) ((((((((1 : α) * t5200) + t5224) + t5223) * m.x01) + (((t5229 + ((1 : α) * t5203)) + t5223) * m.x11)) + ((t5233 + ((1 : α) * t5204)) * m.x21)) + ((t5233 + t5223) * m.x31))), t5191⟩, (4368 : Int))
+  let t5148 := (atan2 m.x21 m.x01)
+  let t5149 := (-t5148)
+  let t5150 := (cos t5149)
+  let t5151 := (sin t5149)
+  let t5152 := (t66 * t5150)
+  let t5153 := (t68 * t5150)
+  let t5154 := (-t5151)
+  let t5155 := (t66 * t5151)
+  let t5157 := ((t72 * t66) + (t5155 * t68))
+  let t5158 := (t68 * t5151)
+  let t5160 := ((t66 * t66) + (t5158 * t68))
+  let t5161 := (t5150 * t68)
+  let t5163 := ((t72 * t72) + (t5155 * t66))
+  let t5165 := ((t66 * t72) + (t5158 * t66))
+  let t5166 := (t5150 * t66)
+  let t5167 := ((0 : α) * t5154)
+  let t5168 := ((0 : α) * t5153)
+  let t5173 := ((0 : α) * t5152)
+  let t5177 := (t5173 + t5168)
+  let t5180 := ((0 : α) * t5161)
+  let t5181 := ((0 : α) * t5160)
+  let t5186 := ((0 : α) * t5157)
+  let t5190 := (t5186 + t5181)
+  let t5193 := ((0 : α) * t5166)
+  let t5194 := ((0 : α) * t5165)
+  let t5197 := ((((1 : α) * t5163) + t5194) + t5193)
+  let t5199 := ((0 : α) * t5163)
+  let t5201 := ((t5199 + ((1 : α) * t5165)) + t5193)
+  let t5203 := (t5199 + t5194)
+  let t5204 := (t5203 + ((1 : α) * t5166))
+  let t5205 := (t5203 + t5193)
+  let t5293 := ((((((((1 : α) * t5152) + t5168) + t5167) * m.x01) + (((t5173 + ((1 : α) * t5153)) + t5167) * m.x11)) + ((t5177 + ((1 : α) * t5154)) * m.x21)) + ((t5177 + t5167) * m.x31))
+  let t5319 := ((((t5197 * m.x01) + (t5201 * m.x11)) + (t5204 * m.x21)) + (t5205 * m.x31))
+  (⟨(atan2 ((((t5197 * m.x00) + (t5201 * m.x10)) + (t5204 * m.x20)) + (t5205 * m.x30)) ((((t5197 * m.x02) + (t5201 * m.x12)) + (t5204 * m.x22)) + (t5205 * m.x32))), (atan2 (sqrt ((t5319 * t5319) + (t5293 * t5293))) ((((((((1 : α) * t5157) + t5181) + t5180) * m.x01) + (((t5186 + ((1 : α) * t5160)) + t5180) * m.x11)) + ((t5190 + ((1 : α) * t5161)) * m.x21)) + ((t5190 + t5180) * m.x31))), t5148⟩, (4368 : Int))
 
 /-- extracted from the C++ template at T = Sym; 1 path(s) -/
 def Euler.extractQuat_YXYr {α : Type} [Add α] [Sub α] [Mul α] [Neg α] [OfNat α 0] [OfNat α 1] [OfNat α 2] (sqrt : α → α) (sin : α → α) (cos : α → α) (atan2 : α → α → α) (q : Quat α) : (V3 α) :=
   let t66 := (cos (0 : α))
   let t68 := (sin (0 : α))
   let t72 := (-t68)
-  let t309 := (q.v.x * q.v.x)
-  let t310 := (q.v.y * q.v.y)
-  let t315 := (q.v.x * q.r)
-  let t316 := (q.v.y * q.v.z)
-  let t318 := ((2 : α) * (t316 - t315))
-  let t319 := (q.v.y * q.r)
-  let t320 := (q.v.z * q.v.x)
-  let t325 := (q.v.z * q.v.z)
-  let t328 := ((1 : α) - ((2 : α) * (t325 + t309)))
-  let t329 := (q.v.z * q.r)
-  let t330 := (q.v.x * q.v.y)
-  let t336 := ((2 : α) * (t330 + t329))
-  let t5378 := (atan2 t318 t336)
-  let t5379 := (-t5378)
-  let t5380 := (cos t5379)
-  let t5381 := (sin t5379)
-  let t5382 := (t66 * t5380)
-  let t5383 := (t68 * t5380)
-  let t5384 := (-t5381)
-  let t5385 := (t66 * t5381)
-  let t5387 := ((t72 * t66) + (t5385 * t68))
-  let t5388 := (t68 * t5381)
-  let t5390 := ((t66 * t66) + (t5388 * t68))
-  let t5391 := (t5380 * t68)
-  let t5393 := ((t72 * t72) + (t5385 * t66))
-  let t5395 := ((t66 * t72) + (t5388 * t66))
-  let t5396 := (t5380 * t66)
-  let t5397 := ((0 : α) * t5384)
-  let t5398 := ((0 : α) * t5383)
-  let t5403 := ((0 : α) * t5382)
-  let t5407 := (t5403 + t5398)
-  let t5410 := ((0 : α) * t5391)
-  let t5411 := ((0 : α) * t5390)
-  let t5416 := ((0 : α) * t5387)
-  let t5420 := (t5416 + t5411)
-  let t5423 := ((0 : α) * t5396)
-  let t5424 := ((0 : α) * t5395)
-  let t5427 := ((((1 : α) * t5393) + t5424) + t5423)
-  let t5429 := ((0 : α) * t5393)
-  let t5431 := ((t5429 + ((1 : α) * t5395)) + t5423)
-  let t5433 := (t5429 + t5424)
-  let t5434 := (t5433 + ((1 : α) * t5396))
-  let t5448 := ((((((((1 : α) * t5382) + t5398) + t5397) * t336) + (((t5403 + ((1 : α) * t5383)) + t5397) * t328)) + ((t5407 + ((1 : α) * t5384)) * t318)) + ((t5407 + t5397) * (0 : α)))
-  let t5488 := ((t5433 + t5423) * (0 : α))
-  let t5500 := ((((t5427 * t336) + (t5431 * t328)) + (t5434 * t318)) + t5488)
-  ⟨(atan2 ((((t5427 * ((1 : α) - ((2 : α) * (t310 + t325)))) + (t5431 * ((2 : α) * (t330 - t329)))) + (t5434 * ((2 : α) * (t320 + t319)))) + t5488) ((((t5427 * ((2 : α) * (t320 - t319))) + (t5431 * ((2 : α) * (t316 + t315)))) + (t5434 * ((1 : α) - ((2 : α) * (t310 + t309))))) + t5488)), (atan2 (sqrt ((t5500 * t5500) + (t5448 * t5448))) ((((((((1 : α) * t5387) + t5411) + t5410) * t336) + (((t5416 + ((1 : α) * t5390)) + t5410) * t328)) + ((t5420 + ((1 : α) * t5391)) * t318)) + ((t5420 + t5410) * (0 : α)))), t5378⟩
+  let t306 := (q.v.x * q.v.x)
+  let t307 := (q.v.y * q.v.y)
+  let t312 := (q.v.x * q.r)
+  let t313 := (q.v.y * q.v.z)
+  let t315 := ((2 : α) * (t313 - t312))
+  let t316 := (q.v.y * q.r)
+  let t317 := (q.v.z * q.v.x)
+  let t322 := (q.v.z * q.v.z)
+  let t325 := ((1 : α) - ((2 : α) * (t322 + t306)))
+  let t326 := (q.v.z * q.r)
+  let t327 := (q.v.x * q.v.y)
+  let t333 := ((2 : α) * (t327 + t326))
+  let t5335 := (atan2 t315 t333)
+  let t5336 := (-t5335)
+  let t5337 := (cos t5336)
+  let t5338 := (sin t5336)
+  let t5339 := (t66 * t5337)
+  let t5340 := (t68 * t5337)
+  let t5341 := (-t5338)
+  let t5342 := (t66 * t5338)
+  let t5344 := ((t72 * t66) + (t5342 * t68))
+  let t5345 := (t68 * t5338)
+  let t5347 := ((t66 * t66) + (t5345 * t68))
+  let t5348 := (t5337 * t68)
+  let t5350 := ((t72 * t72) + (t5342 * t66))
+  let t5352 := ((t66 * t72) + (t5345 * t66))
+  let t5353 := (t5337 * t66)
+  let t5354 := ((0 : α) * t5341)
+  let t5355 := ((0 : α) * t5340)
+  let t5360 := ((0 : α) * t5339)
+  let t5364 := (t5360 + t5355)
+  let t5367 := ((0 : α) * t5348)
+  let t5368 := ((0 : α) * t5347)
+  let t5373 := ((0 : α) * t5344)
+  let t5377 := (t5373 + t5368)
+  let t5380 := ((0 : α) * t5353)
+  let t5381 := ((0 : α) * t5352)
+  let t5384 := ((((1 : α) * t5350) + t5381) + t5380)
+  let t5386 := ((0 : α) * t5350)
+  let t5388 := ((t5386 + ((1 : α) * t5352)) + t5380)
+  let t5390 := (t5386 + t5381)
+  let t5391 := (t5390 + ((1 : α) * t5353))
+  let t5405 := ((((((((1 : α) * t5339) + t5355) + t5354) * t333) + (((t5360 + ((1 : α) * t5340)) + t5354) * t325)) + ((t5364 + ((1 : α) * t5341)) * t315)) + ((t5364 + t5354) * (0 : α)))
+  let t5445 := ((t5390 + t5380) * (0 : α))
+  let t5457 := ((((t5384 * t333) + (t5388 * t325)) + (t5391 * t315)) + t5445)
+  ⟨(atan2 ((((t5384 * ((1 : α) - ((2 : α) * (t307 + t322)))) + (t5388 * ((2 : α) * (t327 - t326)))) + (t5391 * ((2 : α) * (t317 + t316)))) + t5445) ((((t5384 * ((2 : α) * (t317 - t316))) + (t5388 * ((2 : α) * (t313 + t312)))) + (t5391 * ((1 : α) - ((2 : α) * (t307 + t306))))) + t5445)), (atan2 (sqrt ((t5457 * t5457) + (t5405 * t5405))) ((((((((1 : α) * t5344) + t5368) + t5367) * t333) + (((t5373 + ((1 : α) * t5347)) + t5367) * t325)) + ((t5377 + ((1 : α) * t5348)) * t315)) + ((t5377 + t5367) * (0 : α)))), t5335⟩
 
 /-- extracted from the C++ template at T = Sym; 1 path(s) -/
 def Euler.ctorXYZLayout_YXYr {α : Type} (v : V3 α) : ((V3 α) × Int) :=
@@ -8179,40 +6745,40 @@ def Euler.reorderFromXYZ_YXYr {α : Type} [Add α] [Sub α] [Mul α] [Neg α] [O
   let t66 := (cos (0 : α))
   let t68 := (sin (0 : α))
   let t72 := (-t68)
-  let t5520 := (atan2 t24 t20)
-  let t5521 := (-t5520)
-  let t5522 := (cos t5521)
-  let t5523 := (sin t5521)
-  let t5524 := (t66 * t5522)
-  let t5525 := (t68 * t5522)
-  let t5526 := (-t5523)
-  let t5527 := (t66 * t5523)
-  let t5529 := ((t72 * t66) + (t5527 * t68))
-  let t5530 := (t68 * t5523)
-  let t5532 := ((t66 * t66) + (t5530 * t68))
-  let t5533 := (t5522 * t68)
-  let t5535 := ((t72 * t72) + (t5527 * t66))
-  let t5537 := ((t66 * t72) + (t5530 * t66))
-  let t5538 := (t5522 * t66)
-  let t5539 := ((0 : α) * t5526)
-  let t5540 := ((0 : α) * t5525)
-  let t5545 := ((0 : α) * t5524)
-  let t5549 := (t5545 + t5540)
-  let t5552 := ((0 : α) * t5533)
-  let t5553 := ((0 : α) * t5532)
-  let t5558 := ((0 : α) * t5529)
-  let t5562 := (t5558 + t5553)
-  let t5565 := ((0 : α) * t5538)
-  let t5566 := ((0 : α) * t5537)
-  let t5569 := ((((1 : α) * t5535) + t5566) + t5565)
-  let t5571 := ((0 : α) * t5535)
-  let t5573 := ((t5571 + ((1 : α) * t5537)) + t5565)
-  let t5575 := (t5571 + t5566)
-  let t5576 := (t5575 + ((1 : α) * t5538))
-  let t5590 := ((((((((1 : α) * t5524) + t5540) + t5539) * t20) + (((t5545 + ((1 : α) * t5525)) + t5539) * t22)) + ((t5549 + ((1 : α) * t5526)) * t24)) + ((t5549 + t5539) * (0 : α)))
-  let t5630 := ((t5575 + t5565) * (0 : α))
-  let t5642 := ((((t5569 * t20) + (t5573 * t22)) + (t5576 * t24)) + t5630)
-  (⟨(atan2 ((((t5569 * (t5 * t6)) + (t5573 * ((t8 * t12) - t11))) + (t5576 * ((t8 * t10) + t13))) + t5630) ((((t5569 * (-t8)) + (t5573 * (t5 * t7))) + (t5576 * (t5 * t4))) + t5630)), (atan2 (sqrt ((t5642 * t5642) + (t5590 * t5590))) ((((((((1 : α) * t5529) + t5553) + t5552) * t20) + (((t5558 + ((1 : α) * t5532)) + t5552) * t22)) + ((t5562 + ((1 : α) * t5533)) * t24)) + ((t5562 + t5552) * (0 : α)))), t5520⟩, (4368 : Int))
+  let t5477 := (atan2 t24 t20)
+  let t5478 := (-t5477)
+  let t5479 := (cos t5478)
+  let t5480 := (sin t5478)
+  let t5481 := (t66 * t5479)
+  let t5482 := (t68 * t5479)
+  let t5483 := (-t5480)
+  let t5484 := (t66 * t5480)
+  let t5486 := ((t72 * t66) + (t5484 * t68))
+  let t5487 := (t68 * t5480)
+  let t5489 := ((t66 * t66) + (t5487 * t68))
+  let t5490 := (t5479 * t68)
+  let t5492 := ((t72 * t72) + (t5484 * t66))
+  let t5494 := ((t66 * t72) + (t5487 * t66))
+  let t5495 := (t5479 * t66)
+  let t5496 := ((0 : α) * t5483)
+  let t5497 := ((0 : α) * t5482)
+  let t5502 := ((0 : α) * t5481)
+  let t5506 := (t5502 + t5497)
+  let t5509 := ((0 : α) * t5490)
+  let t5510 := ((0 : α) * t5489)
+  let t5515 := ((0 : α) * t5486)
+  let t5519 := (t5515 + t5510)
+  let t5522 := ((0 : α) * t5495)
+  let t5523 := ((0 : α) * t5494)
+  let t5526 := ((((1 : α) * t5492) + t5523) + t5522)
+  let t5528 := ((0 : α) * t5492)
+  let t5530 := ((t5528 + ((1 : α) * t5494)) + t5522)
+  let t5532 := (t5528 + t5523)
+  let t5533 := (t5532 + ((1 : α) * t5495))
+  let t5547 := ((((((((1 : α) * t5481) + t5497) + t5496) * t20) + (((t5502 + ((1 : α) * t5482)) + t5496) * t22)) + ((t5506 + ((1 : α) * t5483)) * t24)) + ((t5506 + t5496) * (0 : α)))
+  let t5587 := ((t5532 + t5522) * (0 : α))
+  let t5599 := ((((t5526 * t20) + (t5530 * t22)) + (t5533 * t24)) + t5587)
+  (⟨(atan2 ((((t5526 * (t5 * t6)) + (t5530 * ((t8 * t12) - t11))) + (t5533 * ((t8 * t10) + t13))) + t5587) ((((t5526 * (-t8)) + (t5530 * (t5 * t7))) + (t5533 * (t5 * t4))) + t5587)), (atan2 (sqrt ((t5599 * t5599) + (t5547 * t5547))) ((((((((1 : α) * t5486) + t5510) + t5509) * t20) + (((t5515 + ((1 : α) * t5489)) + t5509) * t22)) + ((t5519 + ((1 : α) * t5490)) * t24)) + ((t5519 + t5509) * (0 : α)))), t5477⟩, (4368 : Int))
 
 /-- extracted from the C++ template at T = Sym; 1 path(s) -/
 def Euler.reorderToZYXr_YXYr {α : Type} [Add α] [Sub α] [Mul α] [Neg α] [OfNat α 0] [OfNat α 1] (sqrt : α → α) (sin : α → α) (cos : α → α) (atan2 : α → α → α) (a : V3 α) : ((V3 α) × Int) :=
@@ -8235,72 +6801,54 @@ def Euler.reorderToZYXr_YXYr {α : Type} [Add α] [Sub α] [Mul α] [Neg α] [Of
   let t99 := (t95 + t90)
   let t100 := (t99 + ((1 : α) * t72))
   let t128 := ((t99 + t89) * (0 : α))
-  let t4085 := (t8 * t7)
-  let t4087 := (t8 * t9)
-  let t4088 := (-t5)
-  let t7134 := (t6 * t4)
-  let t7135 := (t6 * t7)
-  let t7136 := (t9 * t4)
-  let t7137 := (t9 * t7)
-  let t7793 := (t8 * t6)
-  let t7795 := ((t4088 * t7137) + t7134)
-  let t7798 := ((-t8) * t4)
-  let t7800 := ((t5 * t7136) + t7135)
-  let t7802 := ((t5 * t7134) - t7137)
-  let t8095 := (atan2 t4085 t7795)
-  let t8096 := (-t8095)
-  let t8097 := (cos t8096)
-  let t8098 := (sin t8096)
-  let t8101 := ((t72 * t8097) + ((t66 * t68) * t8098))
-  let t8104 := ((t66 * t8097) + ((t68 * t68) * t8098))
-  let t8105 := (t66 * t8098)
-  let t8113 := ((0 : α) * t8105)
-  let t8114 := ((0 : α) * t8104)
-  let t8117 := ((((1 : α) * t8101) + t8114) + t8113)
-  let t8119 := ((0 : α) * t8101)
-  let t8121 := ((t8119 + ((1 : α) * t8104)) + t8113)
-  let t8123 := (t8119 + t8114)
-  let t8124 := (t8123 + ((1 : α) * t8105))
-  let t8144 := ((((t93 * t7802) + (t97 * t7798)) + (t100 * t7800)) + t128)
-  let t8148 := ((((t93 * t7793) + (t97 * t5)) + (t100 * t4087)) + t128)
-  let t8154 := ((t8123 + t8113) * (0 : α))
-  (⟨(atan2 (-((((t8117 * t7802) + (t8121 * t7798)) + (t8124 * t7800)) + t8154)) ((((t8117 * t7793) + (t8121 * t5)) + (t8124 * t4087)) + t8154)), (atan2 (-((((t93 * ((t4088 * t7135) - t7136)) + (t97 * t4085)) + (t100 * t7795)) + t128)) (sqrt ((t8144 * t8144) + (t8148 * t8148)))), t8095⟩, (256 : Int))
+  let t4044 := (t8 * t7)
+  let t4047 := (-t5)
+  let t7087 := (t6 * t4)
+  let t7088 := (t6 * t7)
+  let t7089 := (t9 * t4)
+  let t7090 := (t9 * t7)
+  let t7737 := (t8 * t6)
+  let t7739 := ((t4047 * t7090) + t7087)
+  let t7746 := ((t5 * t7087) - t7090)
+  let t8086 := ((((t93 * t7746) + (t97 * ((-t8) * t4))) + (t100 * ((t5 * t7089) + t7088))) + t128)
+  let t8090 := ((((t93 * t7737) + (t97 * t5)) + (t100 * (t8 * t9))) + t128)
+  (⟨(atan2 t7737 t7746), (atan2 (-((((t93 * ((t4047 * t7088) - t7089)) + (t97 * t4044)) + (t100 * t7739)) + t128)) (sqrt ((t8086 * t8086) + (t8090 * t8090)))), (atan2 t4044 t7739)⟩, (256 : Int))
 
 /-- extracted from the C++ template at T = Sym; 1 path(s) -/
 def Euler.toMatrix33_YZYr {α : Type} [Add α] [Sub α] [Mul α] [Neg α] [OfNat α 1] (sin : α → α) (cos : α → α) (a : V3 α) : (M33 α) :=
-  let t627 := (a.x * (-(1 : α)))
-  let t628 := (a.y * (-(1 : α)))
-  let t629 := (a.z * (-(1 : α)))
-  let t630 := (cos t627)
-  let t631 := (cos t628)
-  let t632 := (cos t629)
-  let t633 := (sin t627)
-  let t634 := (sin t628)
-  let t635 := (sin t629)
-  let t3580 := (-t631)
-  let t6975 := (t632 * t630)
-  let t6976 := (t632 * t633)
-  let t6977 := (t635 * t630)
-  let t6978 := (t635 * t633)
-  ⟨((t3580 * t6978) + t6975), (t634 * t635), ((t631 * t6977) + t6976), (t634 * t633), t631, ((-t634) * t630), ((t3580 * t6976) - t6977), (t634 * t632), ((t631 * t6975) - t6978)⟩
+  let t622 := (a.x * (-(1 : α)))
+  let t623 := (a.y * (-(1 : α)))
+  let t624 := (a.z * (-(1 : α)))
+  let t625 := (cos t622)
+  let t626 := (cos t623)
+  let t627 := (cos t624)
+  let t628 := (sin t622)
+  let t629 := (sin t623)
+  let t630 := (sin t624)
+  let t3540 := (-t626)
+  let t6929 := (t627 * t625)
+  let t6930 := (t627 * t628)
+  let t6931 := (t630 * t625)
+  let t6932 := (t630 * t628)
+  ⟨((t3540 * t6932) + t6929), (t629 * t630), ((t626 * t6931) + t6930), (t629 * t628), t626, ((-t629) * t625), ((t3540 * t6930) - t6931), (t629 * t627), ((t626 * t6929) - t6932)⟩
 
 /-- extracted from the C++ template at T = Sym; 1 path(s) -/
 def Euler.toMatrix44_YZYr {α : Type} [Add α] [Sub α] [Mul α] [Neg α] [OfNat α 0] [OfNat α 1] (sin : α → α) (cos : α → α) (a : V3 α) : (M44 α) :=
-  let t627 := (a.x * (-(1 : α)))
-  let t628 := (a.y * (-(1 : α)))
-  let t629 := (a.z * (-(1 : α)))
-  let t630 := (cos t627)
-  let t631 := (cos t628)
-  let t632 := (cos t629)
-  let t633 := (sin t627)
-  let t634 := (sin t628)
-  let t635 := (sin t629)
-  let t3580 := (-t631)
-  let t6975 := (t632 * t630)
-  let t6976 := (t632 * t633)
-  let t6977 := (t635 * t630)
-  let t6978 := (t635 * t633)
-  ⟨((t3580 * t6978) + t6975), (t634 * t635), ((t631 * t6977) + t6976), (0 : α), (t634 * t633), t631, ((-t634) * t630), (0 : α), ((t3580 * t6976) - t6977), (t634 * t632), ((t631 * t6975) - t6978), (0 : α), (0 : α), (0 : α), (0 : α), (1 : α)⟩
+  let t622 := (a.x * (-(1 : α)))
+  let t623 := (a.y * (-(1 : α)))
+  let t624 := (a.z * (-(1 : α)))
+  let t625 := (cos t622)
+  let t626 := (cos t623)
+  let t627 := (cos t624)
+  let t628 := (sin t622)
+  let t629 := (sin t623)
+  let t630 := (sin t624)
+  let t3540 := (-t626)
+  let t6929 := (t627 * t625)
+  let t6930 := (t627 * t628)
+  let t6931 := (t630 * t625)
+  let t6932 := (t630 * t628)
+  ⟨((t3540 * t6932) + t6929), (t629 * t630), ((t626 * t6931) + t6930), (0 : α), (t629 * t628), t626, ((-t629) * t625), (0 : α), ((t3540 * t6930) - t6931), (t629 * t627), ((t626 * t6929) - t6932), (0 : α), (0 : α), (0 : α), (0 : α), (1 : α)⟩
 
 /-- extracted from the C++ template at T = Sym; 1 path(s) -/
 def Euler.toQuat_YZYr {α : Type} [Add α] [Sub α] [Mul α] [Div α] [Neg α] [OfNat α 1] [OfNat α 2] (sin : α → α) (cos : α → α) (a : V3 α) : (Quat α) :=
@@ -8310,221 +6858,221 @@ def Euler.toQuat_YZYr {α : Type} [Add α] [Sub α] [Mul α] [Div α] [Neg α] [
   let t34 := (cos t31)
   let t35 := (sin t29)
   let t37 := (sin t31)
-  let t654 := ((-a.y) * ((1 : α) / (2 : α)))
-  let t655 := (cos t654)
-  let t656 := (sin t654)
-  let t6987 := (t34 * t32)
-  let t6988 := (t34 * t35)
-  let t6989 := (t37 * t32)
-  let t6990 := (t37 * t35)
-  ⟨(t655 * (t6987 - t6990)), ⟨((t656 * (t6987 + t6990)) * (-(1 : α))), (t655 * (t6988 + t6989)), (t656 * (t6988 - t6989))⟩⟩
+  let t649 := ((-a.y) * ((1 : α) / (2 : α)))
+  let t650 := (cos t649)
+  let t651 := (sin t649)
+  let t6941 := (t34 * t32)
+  let t6942 := (t34 * t35)
+  let t6943 := (t37 * t32)
+  let t6944 := (t37 * t35)
+  ⟨(t650 * (t6941 - t6944)), ⟨((t651 * (t6941 + t6944)) * (-(1 : α))), (t650 * (t6942 + t6943)), (t651 * (t6942 - t6943))⟩⟩
 
 /-- extracted from the C++ template at T = Sym; 1 path(s) -/
 def Euler.extractM33_YZYr {α : Type} [Add α] [Mul α] [Neg α] [OfNat α 0] [OfNat α 1] (sqrt : α → α) (sin : α → α) (cos : α → α) (atan2 : α → α → α) (m : M33 α) : (V3 α) :=
   let t66 := (cos (0 : α))
   let t68 := (sin (0 : α))
   let t72 := (-t68)
-  let t4581 := (atan2 m.x01 m.x21)
-  let t4582 := (cos t4581)
-  let t4583 := (sin t4581)
-  let t4584 := (t66 * t4582)
-  let t4585 := (t68 * t4582)
-  let t4586 := (-t4583)
-  let t4587 := (t66 * t4583)
-  let t4589 := ((t72 * t66) + (t4587 * t68))
-  let t4590 := (t68 * t4583)
-  let t4592 := ((t66 * t66) + (t4590 * t68))
-  let t4593 := (t4582 * t68)
-  let t4595 := ((t72 * t72) + (t4587 * t66))
-  let t4597 := ((t66 * t72) + (t4590 * t66))
-  let t4598 := (t4582 * t66)
-  let t4599 := ((0 : α) * t4586)
-  let t4600 := ((0 : α) * t4585)
-  let t4603 := ((((1 : α) * t4584) + t4600) + t4599)
-  let t4605 := ((0 : α) * t4584)
-  let t4607 := ((t4605 + ((1 : α) * t4585)) + t4599)
-  let t4609 := (t4605 + t4600)
-  let t4610 := (t4609 + ((1 : α) * t4586))
-  let t4612 := ((0 : α) * t4593)
-  let t4613 := ((0 : α) * t4592)
-  let t4618 := ((0 : α) * t4589)
-  let t4622 := (t4618 + t4613)
-  let t4625 := ((0 : α) * t4598)
-  let t4626 := ((0 : α) * t4597)
-  let t4631 := ((0 : α) * t4595)
-  let t4635 := (t4631 + t4626)
-  let t4638 := ((t4609 + t4599) * (0 : α))
-  let t4650 := ((((t4603 * m.x01) + (t4607 * m.x11)) + (t4610 * m.x21)) + t4638)
-  let t4702 := ((((((((1 : α) * t4595) + t4626) + t4625) * m.x01) + (((t4631 + ((1 : α) * t4597)) + t4625) * m.x11)) + ((t4635 + ((1 : α) * t4598)) * m.x21)) + ((t4635 + t4625) * (0 : α)))
-  ⟨((atan2 ((((t4603 * m.x02) + (t4607 * m.x12)) + (t4610 * m.x22)) + t4638) ((((t4603 * m.x00) + (t4607 * m.x10)) + (t4610 * m.x20)) + t4638)) * (-(1 : α))), ((atan2 (sqrt ((t4650 * t4650) + (t4702 * t4702))) ((((((((1 : α) * t4589) + t4613) + t4612) * m.x01) + (((t4618 + ((1 : α) * t4592)) + t4612) * m.x11)) + ((t4622 + ((1 : α) * t4593)) * m.x21)) + ((t4622 + t4612) * (0 : α)))) * (-(1 : α))), (t4581 * (-(1 : α)))⟩
+  let t4539 := (atan2 m.x01 m.x21)
+  let t4540 := (cos t4539)
+  let t4541 := (sin t4539)
+  let t4542 := (t66 * t4540)
+  let t4543 := (t68 * t4540)
+  let t4544 := (-t4541)
+  let t4545 := (t66 * t4541)
+  let t4547 := ((t72 * t66) + (t4545 * t68))
+  let t4548 := (t68 * t4541)
+  let t4550 := ((t66 * t66) + (t4548 * t68))
+  let t4551 := (t4540 * t68)
+  let t4553 := ((t72 * t72) + (t4545 * t66))
+  let t4555 := ((t66 * t72) + (t4548 * t66))
+  let t4556 := (t4540 * t66)
+  let t4557 := ((0 : α) * t4544)
+  let t4558 := ((0 : α) * t4543)
+  let t4561 := ((((1 : α) * t4542) + t4558) + t4557)
+  let t4563 := ((0 : α) * t4542)
+  let t4565 := ((t4563 + ((1 : α) * t4543)) + t4557)
+  let t4567 := (t4563 + t4558)
+  let t4568 := (t4567 + ((1 : α) * t4544))
+  let t4570 := ((0 : α) * t4551)
+  let t4571 := ((0 : α) * t4550)
+  let t4576 := ((0 : α) * t4547)
+  let t4580 := (t4576 + t4571)
+  let t4583 := ((0 : α) * t4556)
+  let t4584 := ((0 : α) * t4555)
+  let t4589 := ((0 : α) * t4553)
+  let t4593 := (t4589 + t4584)
+  let t4596 := ((t4567 + t4557) * (0 : α))
+  let t4608 := ((((t4561 * m.x01) + (t4565 * m.x11)) + (t4568 * m.x21)) + t4596)
+  let t4660 := ((((((((1 : α) * t4553) + t4584) + t4583) * m.x01) + (((t4589 + ((1 : α) * t4555)) + t4583) * m.x11)) + ((t4593 + ((1 : α) * t4556)) * m.x21)) + ((t4593 + t4583) * (0 : α)))
+  ⟨((atan2 ((((t4561 * m.x02) + (t4565 * m.x12)) + (t4568 * m.x22)) + t4596) ((((t4561 * m.x00) + (t4565 * m.x10)) + (t4568 * m.x20)) + t4596)) * (-(1 : α))), ((atan2 (sqrt ((t4608 * t4608) + (t4660 * t4660))) ((((((((1 : α) * t4547) + t4571) + t4570) * m.x01) + (((t4576 + ((1 : α) * t4550)) + t4570) * m.x11)) + ((t4580 + ((1 : α) * t4551)) * m.x21)) + ((t4580 + t4570) * (0 : α)))) * (-(1 : α))), (t4539 * (-(1 : α)))⟩
 
 /-- extracted from the C++ template at T = Sym; 1 path(s) -/
 def Euler.extractM44_YZYr {α : Type} [Add α] [Mul α] [Neg α] [OfNat α 0] [OfNat α 1] (sqrt : α → α) (sin : α → α) (cos : α → α) (atan2 : α → α → α) (m : M44 α) : (V3 α) :=
   let t66 := (cos (0 : α))
   let t68 := (sin (0 : α))
   let t72 := (-t68)
-  let t4581 := (atan2 m.x01 m.x21)
-  let t4582 := (cos t4581)
-  let t4583 := (sin t4581)
-  let t4584 := (t66 * t4582)
-  let t4585 := (t68 * t4582)
-  let t4586 := (-t4583)
-  let t4587 := (t66 * t4583)
-  let t4589 := ((t72 * t66) + (t4587 * t68))
-  let t4590 := (t68 * t4583)
-  let t4592 := ((t66 * t66) + (t4590 * t68))
-  let t4593 := (t4582 * t68)
-  let t4595 := ((t72 * t72) + (t4587 * t66))
-  let t4597 := ((t66 * t72) + (t4590 * t66))
-  let t4598 := (t4582 * t66)
-  let t4599 := ((0 : α) * t4586)
-  let t4600 := ((0 : α) * t4585)
-  let t4603 := ((((1 : α) * t4584) + t4600) + t4599)
-  let t4605 := ((0 : α) * t4584)
-  let t4607 := ((t4605 + ((1 : α) * t4585)) + t4599)
-  let t4609 := (t4605 + t4600)
-  let t4610 := (t4609 + ((1 : α) * t4586))
-  let t4611 := (t4609 + t4599)
-  let t4612 := ((0 : α) * t4593)
-  let t4613 := ((0 : α) * t4592)
-  let t4618 := ((0 : α) * t4589)
-  let t4622 := (t4618 + t4613)
-  let t4625 := ((0 : α) * t4598)
-  let t4626 := ((0 : α) * t4597)
-  let t4631 := ((0 : α) * t4595)
-  let t4635 := (t4631 + t4626)
-  let t4728 := ((((t4603 * m.x01) + (t4607 * m.x11)) + (t4610 * m.x21)) + (t4611 * m.x31))
-  let t4754 := ((((((((1 : α) * t4595) + t4626) + t4625) * m.x01) + (((t4631 + ((1 : α) * t4597)) + t4625) * m.x11)) + ((t4635 + ((1 : α) * t4598)) * m.x21)) + ((t4635 + t4625) * m.x31))
-  ⟨((atan2 ((((t4603 * m.x02) + (t4607 * m.x12)) + (t4610 * m.x22)) + (t4611 * m.x32)) ((((t4603 * m.x00) + (t4607 * m.x10)) + (t4610 * m.x20)) + (t4611 * m.x30))) * (-(1 : α))), ((atan2 (sqrt ((t4728 * t4728) + (t4754 * t4754))) ((((((((1 : α) * t4589) + t4613) + t4612) * m.x01) + (((t4618 + ((1 : α) * t4592)) + t4612) * m.x11)) + ((t4622 + ((1 : α) * t4593)) * m.x21)) + ((t4622 + t4612) * m.x31))) * (-(1 : α))), (t4581 * (-(1 : α)))⟩
+  let t4539 := (atan2 m.x01 m.x21)
+  let t4540 := (cos t4539)
+  let t4541 := (sin t4539)
+  let t4542 := (t66 * t4540)
+  let t4543 := (t68 * t4540)
+  let t4544 := (-t4541)
+  let t4545 := (t66 * t4541)
+  let t4547 := ((t72 * t66) + (t4545 * t68))
+  let t4548 := (t68 * t4541)
+  let t4550 := ((t66 * t66) + (t4548 * t68))
+  let t4551 := (t4540 * t68)
+  let t4553 := ((t72 * t72) + (t4545 * t66))
+  let t4555 := ((t66 * t72) + (t4548 * t66))
+  let t4556 := (t4540 * t66)
+  let t4557 := ((0 : α) * t4544)
+  let t4558 := ((0 : α) * t4543)
+  let t4561 := ((((1 : α) * t4542) + t4558) + t4557)
+  let t4563 := ((0 : α) * t4542)
+  let t4565 := ((t4563 + ((1 : α) * t4543)) + t4557)
+  let t4567 := (t4563 + t4558)
+  let t4568 := (t4567 + ((1 : α) * t4544))
+  let t4569 := (t4567 + t4557)
+  let t4570 := ((0 : α) * t4551)
+  let t4571 := ((0 : α) * t4550)
+  let t4576 := ((0 : α) * t4547)
+  let t4580 := (t4576 + t4571)
+  let t4583 := ((0 : α) * t4556)
+  let t4584 := ((0 : α) * t4555)
+  let t4589 := ((0 : α) * t4553)
+  let t4593 := (t4589 + t4584)
+  let t4686 := ((((t4561 * m.x01) + (t4565 * m.x11)) + (t4568 * m.x21)) + (t4569 * m.x31))
+  let t4712 := ((((((((1 : α) * t4553) + t4584) + t4583) * m.x01) + (((t4589 + ((1 : α) * t4555)) + t4583) * m.x11)) + ((t4593 + ((1 : α) * t4556)) * m.x21)) + ((t4593 + t4583) * m.x31))
+  ⟨((atan2 ((((t4561 * m.x02) + (t4565 * m.x12)) + (t4568 * m.x22)) + (t4569 * m.x32)) ((((t4561 * m.x00) + (t4565 * m.x10)) + (t4568 * m.x20)) + (t4569 * m.x30))) * (-(1 : α))), ((atan2 (sqrt ((t4686 * t4686) + (t4712 * t4712))) ((((((((1 : α) * t4547) + t4571) + t4570) * m.x01) + (((t4576 + ((1 : α) * t4550)) + t4570) * m.x11)) + ((t4580 + ((1 : α) * t4551)) * m.x21)) + ((t4580 + t4570) * m.x31))) * (-(1 : α))), (t4539 * (-(1 : α)))⟩
 
 /-- extracted from the C++ template at T = Sym; 1 path(s) -/
 def Euler.ctorM33_YZYr {α : Type} [Add α] [Mul α] [Neg α] [OfNat α 0] [OfNat α 1] (sqrt : α → α) (sin : α → α) (cos : α → α) (atan2 : α → α → α) (m : M33 α) : ((V3 α) × Int) :=
   let t66 := (cos (0 : α))
   let t68 := (sin (0 : α))
   let t72 := (-t68)
-  let t4581 := (atan2 m.x01 m.x21)
-  let t4582 := (cos t4581)
-  let t4583 := (sin t4581)
-  let t4584 := (t66 * t4582)
-  let t4585 := (t68 * t4582)
-  let t4586 := (-t4583)
-  let t4587 := (t66 * t4583)
-  let t4589 := ((t72 * t66) + (t4587 * t68))
-  let t4590 := (t68 * t4583)
-  let t4592 := ((t66 * t66) + (t4590 * t68))
-  let t4593 := (t4582 * t68)
-  let t4595 := ((t72 * t72) + (t4587 * t66))
-  let t4597 := ((t66 * t72) + (t4590 * t66))
-  let t4598 := (t4582 * t66)
-  let t4599 := ((0 : α) * t4586)
-  let t4600 := ((0 : α) * t4585)
-  let t4603 := ((((1 : α) * t4584) + t4600) + t4599)
-  let t4605 := ((0 : α) * t4584)
-  let t4607 := ((t4605 + ((1 : α) * t4585)) + t4599)
-  let t4609 := (t4605 + t4600)
-  let t4610 := (t4609 + ((1 : α) * t4586))
-  let t4612 := ((0 : α) * t4593)
-  let t4613 := ((0 : α) * t4592)
-  let t4618 := ((0 : α) * t4589)
-  let t4622 := (t4618 + t4613)
-  let t4625 := ((0 : α) * t4598)
-  let t4626 := ((0 : α) * t4597)
-  let t4631 := ((0 : α) * t4595)
-  let t4635 := (t4631 + t4626)
-  let t4638 := ((t4609 + t4599) * (0 : α))
-  let t4650 := ((((t4603 * m.x01) + (t4607 * m.x11)) + (t4610 * m.x21)) + t4638)
-  let t4702 := ((((((((1 : α) * t4595) + t4626) + t4625) * m.x01) + (((t4631 + ((1 : α) * t4597)) + t4625) * m.x11)) + ((t4635 + ((1 : α) * t4598)) * m.x21)) + ((t4635 + t4625) * (0 : α)))
-  (⟨((atan2 ((((t4603 * m.x02) + (t4607 * m.x12)) + (t4610 * m.x22)) + t4638) ((((t4603 * m.x00) + (t4607 * m.x10)) + (t4610 * m.x20)) + t4638)) * (-(1 : α))), ((atan2 (sqrt ((t4650 * t4650) + (t4702 * t4702))) ((((((((1 : α) * t4589) + t4613) + t4612) * m.x01) + (((t4618 + ((1 : α) * t4592)) + t4612) * m.x11)) + ((t4622 + ((1 : α) * t4593)) * m.x21)) + ((t4622 + t4612) * (0 : α)))) * (-(1 : α))), (t4581 * (-(1 : α)))⟩, (4112 : Int))
+  let t4539 := (atan2 m.x01 m.x21)
+  let t4540 := (cos t4539)
+  let t4541 := (sin t4539)
+  let t4542 := (t66 * t4540)
+  let t4543 := (t68 * t4540)
+  let t4544 := (-t4541)
+  let t4545 := (t66 * t4541)
+  let t4547 := ((t72 * t66) + (t4545 * t68))
+  let t4548 := (t68 * t4541)
+  let t4550 := ((t66 * t66) + (t4548 * t68))
+  let t4551 := (t4540 * t68)
+  let t4553 := ((t72 * t72) + (t4545 * t66))
+  let t4555 := ((t66 * t72) + (t4548 * t66))
+  let t4556 := (t4540 * t66)
+  let t4557 := ((0 : α) * t4544)
+  let t4558 := ((0 : α) * t4543)
+  let t4561 := ((((1 : α) * t4542) + t4558) + t4557)
+  let t4563 := ((0 : α) * t4542)
+  let t4565 := ((t4563 + ((1 : α) * t4543)) + t4557)
+  let t4567 := (t4563 + t4558)
+  let t4568 := (t4567 + ((1 : α) * t4544))
+  let t4570 := ((0 : α) * t4551)
+  let t4571 := ((0 : α) * t4550)
+  let t4576 := ((0 : α) * t4547)
+  let t4580 := (t4576 + t4571)
+  let t4583 := ((0 : α) * t4556)
+  let t4584 := ((0 : α) * t4555)
+  let t4589 := ((0 : α) * t4553)
+  let t4593 := (t4589 + t4584)
+  let t4596 := ((t4567 + t4557) * (0 : α))
+  let t4608 := ((((t4561 * m.x01) + (t4565 * m.x11)) + (t4568 * m.x21)) + t4596)
+  let t4660 := ((((((((1 : α) * t4553) + t4584) + t4583) * m.x01) + (((t4589 + ((1 : α) * t4555)) + t4583) * m.x11)) + ((t4593 + ((1 : α) * t4556)) * m.x21)) + ((t4593 + t4583) * (0 : α)))
+  (⟨((atan2 ((((t4561 * m.x02) + (t4565 * m.x12)) + (t4568 * m.x22)) + t4596) ((((t4561 * m.x00) + (t4565 * m.x10)) + (t4568 * m.x20)) + t4596)) * (-(1 : α))), ((atan2 (sqrt ((t4608 * t4608) + (t4660 * t4660))) ((((((((1 : α) * t4547) + t4571) + t4570) * m.x01) + (((t4576 + ((1 : α) * t4550)) + t4570) * m.x11)) + ((t4580 + ((1 : α) * t4551)) * m.x21)) + ((t4580 + t4570) * (0 : α)))) * (-(1 : α))), (t4539 * (-(1 : α)))⟩, (4112 : Int))
 
 /-- extracted from the C++ template at T = Sym; 1 path(s) -/
 def Euler.ctorM44_YZYr {α : Type} [Add α] [Mul α] [Neg α] [OfNat α 0] [OfNat α 1] (sqrt : α → α) (sin : α → α) (cos : α → α) (atan2 : α → α → α) (m : M44 α) : ((V3 α) × Int) :=
   let t66 := (cos (0 : α))
   let t68 := (sin (0 : α))
   let t72 := (-t68)
-  let t4581 := (atan2 m.x01 m.x21)
-  let t4582 := (cos t4581)
-  let t4583 := (sin t4581)
-  let t4584 := (t66 * t4582)
-  let t4585 := (t68 * t4582)
-  let t4586 := (-t4583)
-  let t4587 := (t66 * t4583)
-  let t4589 := ((t72 * t66) + (t4587 * t68))
-  let t4590 := (t68 * t4583)
-  let t4592 := ((t66 * t66) + (t4590 * t68))
-  let t4593 := (t4582 * t68)
-  let t4595 := ((t72 * t72) + (t4587 * t66))
-  let t4597 := ((t66 * t72) + (t4590 * t66))
-  let t4598 := (t4582 * t66)
-  let t4599 := ((0 : α) * t4586)
-  let t4600 := ((0 : α) * t4585)
-  let t4603 := ((((1 : α) * t4584) + t4600) + t4599)
-  let t4605 := ((0 : α) * t4584)
-  let t4607 := ((t4605 + ((1 : α) * t4585)) + t4599)
-  let t4609 := (t4605 + t4600)
-  let t4610 := (t4609 + ((1 : α) * t4586))
-  let t4611 := (t4609 + t4599)
-  let t4612 := ((0 : α) * t4593)
-  let t4613 := ((0 : α) * t4592)
-  let t4618 := ((0 : α) * t4589)
-  let t4622 := (t4618 + t4613)
-  let t4625 := ((0 : α) * t4598)
-  let t4626 := ((0 : α) * t4597)
-  let t4631 := ((0 : α) * t4595)
-  let t4635 := (t4631 + t4626)
-  let t4728 := ((((t4603 * m.x01) + (t4607 * m.x11)) + (t4610 * m.x21)) + (t4611 * m.x31))
-  let t4754 := ((((((((1 : α) * t4595) + t4626) + t4625) * m.x01) + (((t4631 + ((1 : α) * t4597)) + t4625) * m.x11)) + ((t4635 + ((1 : α) * t4598)) * m.x21)) + ((t4635 + t4625) * m.x31))
-  (⟨((atan2 ((((t4603 * m.x02) + (t4607 * m.x12)) + (t4610 * m.x22)) + (t4611 * m.x32)) ((((t4603 * m.x00) + (t4607 * m.x10)) + (t4610 * m.x20)) + (t4611 * m.x30))) * (-(1 : α))), ((atan2 (sqrt ((t4728 * t4728) + (t4754 * t4754))) ((((((((1 : α) * t4589) + t4613) + t4612) * m.x01) + (((t4618 + ((1 : α) * t4592)) + t4612) * m.x11)) + ((t4622 + ((1 : α) * t4593)) * m.x21)) + ((t4622 + t4612) * m.x31))) * (-(1 : α))), (t4581 * (-(1 : α)))⟩, (4112 : Int))
+  let t4539 := (atan2 m.x01 m.x21)
+  let t4540 := (cos t4539)
+  let t4541 := (sin t4539)
+  let t4542 := (t66 * t4540)
+  let t4543 := (t68 * t4540)
+  let t4544 := (-t4541)
+  let t4545 := (t66 * t4541)
+  let t4547 := ((t72 * t66) + (t4545 * t68))
+  let t4548 := (t68 * t4541)
+  let t4550 := ((t66 * t66) + (t4548 * t68))
+  let t4551 := (t4540 * t68)
+  let t4553 := ((t72 * t72) + (t4545 * t66))
+  let t4555 := ((t66 * t72) + (t4548 * t66))
+  let t4556 := (t4540 * t66)
+  let t4557 := ((0 : α) * t4544)
+  let t4558 := ((0 : α) * t4543)
+  let t4561 := ((((1 : α) * t4542) + t4558) + t4557)
+  let t4563 := ((0 : α) * t4542)
+  let t4565 := ((t4563 + ((1 : α) * t4543)) + t4557)
+  let t4567 := (t4563 + t4558)
+  let t4568 := (t4567 + ((1 : α) * t4544))
+  let t4569 := (t4567 + t4557)
+  let t4570 := ((0 : α) * t4551)
+  let t4571 := ((0 : α) * t4550)
+  let t4576 := ((0 : α) * t4547)
+  let t4580 := (t4576 + t4571)
+  let t4583 := ((0 : α) * t4556)
+  let t4584 := ((0 : α) * t4555)
+  let t4589 := ((0 : α) * t4553)
+  let t4593 := (t4589 + t4584)
+  let t4686 := ((((t4561 * m.x01) + (t4565 * m.x11)) + (t4568 * m.x21)) + (t4569 * m.x31))
+  let t4712 := ((((((((1 : α) * t4553) + t4584) + t4583) * m.x01) + (((t4589 + ((1 : α) * t4555)) + t4583) * m.x11)) + ((t4593 + ((1 : α) * t4556)) * m.x21)) + ((t4593 + t4583) * m.x31))
+  (⟨((atan2 ((((t4561 * m.x02) + (t4565 * m.x12)) + (t4568 * m.x22)) + (t4569 * m.x32)) ((((t4561 * m.x00) + (t4565 * m.x10)) + (t4568 * m.x20)) + (t4569 * m.x30))) * (-(1 : α))), ((atan2 (sqrt ((t4686 * t4686) + (t4712 * t4712))) ((((((((1 : α) * t4547) + t4571) + t4570) * m.x01) + (((t4576 + ((1 : α) * t4550)) + t4570) * m.x11)) + ((t4580 + ((1 : α) * t4551)) * m.x21)) + ((t4580 + t4570) * m.x31))) * (-(1 : α))), (t4539 * (-(1 : α)))⟩, (4112 : Int))
 
 /-- extracted from the C++ template at T = Sym; 1 path(s) -/
 def Euler.extractQuat_YZYr {α : Type} [Add α] [Sub α] [Mul α] [Neg α] [OfNat α 0] [OfNat α 1] [OfNat α 2] (sqrt : α → α) (sin : α → α) (cos : α → α) (atan2 : α → α → α) (q : Quat α) : (V3 α) :=
   let t66 := (cos (0 : α))
   let t68 := (sin (0 : α))
   let t72 := (-t68)
-  let t309 := (q.v.x * q.v.x)
-  let t310 := (q.v.y * q.v.y)
-  let t315 := (q.v.x * q.r)
-  let t316 := (q.v.y * q.v.z)
-  let t318 := ((2 : α) * (t316 - t315))
-  let t319 := (q.v.y * q.r)
-  let t320 := (q.v.z * q.v.x)
-  let t325 := (q.v.z * q.v.z)
-  let t328 := ((1 : α) - ((2 : α) * (t325 + t309)))
-  let t329 := (q.v.z * q.r)
-  let t330 := (q.v.x * q.v.y)
-  let t336 := ((2 : α) * (t330 + t329))
-  let t4772 := (atan2 t336 t318)
-  let t4773 := (cos t4772)
-  let t4774 := (sin t4772)
-  let t4775 := (t66 * t4773)
-  let t4776 := (t68 * t4773)
-  let t4777 := (-t4774)
-  let t4778 := (t66 * t4774)
-  let t4780 := ((t72 * t66) + (t4778 * t68))
-  let t4781 := (t68 * t4774)
-  let t4783 := ((t66 * t66) + (t4781 * t68))
-  let t4784 := (t4773 * t68)
-  let t4786 := ((t72 * t72) + (t4778 * t66))
-  let t4788 := ((t66 * t72) + (t4781 * t66))
-  let t4789 := (t4773 * t66)
-  let t4790 := ((0 : α) * t4777)
-  let t4791 := ((0 : α) * t4776)
-  let t4794 := ((((1 : α) * t4775) + t4791) + t4790)
-  let t4796 := ((0 : α) * t4775)
-  let t4798 := ((t4796 + ((1 : α) * t4776)) + t4790)
-  let t4800 := (t4796 + t4791)
-  let t4801 := (t4800 + ((1 : α) * t4777))
-  let t4803 := ((0 : α) * t4784)
-  let t4804 := ((0 : α) * t4783)
-  let t4809 := ((0 : α) * t4780)
-  let t4813 := (t4809 + t4804)
-  let t4816 := ((0 : α) * t4789)
-  let t4817 := ((0 : α) * t4788)
-  let t4822 := ((0 : α) * t4786)
-  let t4826 := (t4822 + t4817)
-  let t4829 := ((t4800 + t4790) * (0 : α))
-  let t4841 := ((((t4794 * t336) + (t4798 * t328)) + (t4801 * t318)) + t4829)
-  let t4893 := ((((((((1 : α) * t4786) + t4817) + t4816) * t336) + (((t4822 + ((1 : α) * t4788)) + t4816) * t328)) + ((t4826 + ((1 : α) * t4789)) * t318)) + ((t4826 + t4816) * (0 : α)))
-  ⟨((atan2 ((((t4794 * ((2 : α) * (t320 - t319))) + (t4798 * ((2 : α) * (t316 + t315)))) + (t4801 * ((1 : α) - ((2 : α) * (t310 + t309))))) + t4829) ((((t4794 * ((1 : α) - ((2 : α) * (t310 + t325)))) + (t4798 * ((2 : α) * (t330 - t329)))) + (t4801 * ((2 : α) * (t320 + t319)))) + t4829)) * (-(1 : α))), ((atan2 (sqrt ((t4841 * t4841) + (t4893 * t4893))) ((((((((1 : α) * t4780) + t4804) + t4803) * t336) + (((t4809 + ((1 : α) * t4783)) + t4803) * t328)) + ((t4813 + ((1 : α) * t4784)) * t318)) + ((t4813 + t4803) * (0 : α)))) * (-(1 : α))), (t4772 * (-(1 : α)))⟩
+  let t306 := (q.v.x * q.v.x)
+  let t307 := (q.v.y * q.v.y)
+  let t312 := (q.v.x * q.r)
+  let t313 := (q.v.y * q.v.z)
+  let t315 := ((2 : α) * (t313 - t312))
+  let t316 := (q.v.y * q.r)
+  let t317 := (q.v.z * q.v.x)
+  let t322 := (q.v.z * q.v.z)
+  let t325 := ((1 : α) - ((2 : α) * (t322 + t306)))
+  let t326 := (q.v.z * q.r)
+  let t327 := (q.v.x * q.v.y)
+  let t333 := ((2 : α) * (t327 + t326))
+  let t4730 := (atan2 t333 t315)
+  let t4731 := (cos t4730)
+  let t4732 := (sin t4730)
+  let t4733 := (t66 * t4731)
+  let t4734 := (t68 * t4731)
+  let t4735 := (-t4732)
+  let t4736 := (t66 * t4732)
+  let t4738 := ((t72 * t66) + (t4736 * t68))
+  let t4739 := (t68 * t4732)
+  let t4741 := ((t66 * t66) + (t4739 * t68))
+  let t4742 := (t4731 * t68)
+  let t4744 := ((t72 * t72) + (t4736 * t66))
+  let t4746 := ((t66 * t72) + (t4739 * t66))
+  let t4747 := (t4731 * t66)
+  let t4748 := ((0 : α) * t4735)
+  let t4749 := ((0 : α) * t4734)
+  let t4752 := ((((1 : α) * t4733) + t4749) + t4748)
+  let t4754 := ((0 : α) * t4733)
+  let t4756 := ((t4754 + ((1 : α) * t4734)) + t4748)
+  let t4758 := (t4754 + t4749)
+  let t4759 := (t4758 + ((1 : α) * t4735))
+  let t4761 := ((0 : α) * t4742)
+  let t4762 := ((0 : α) * t4741)
+  let t4767 := ((0 : α) * t4738)
+  let t4771 := (t4767 + t4762)
+  let t4774 := ((0 : α) * t4747)
+  let t4775 := ((0 : α) * t4746)
+  let t4780 := ((0 : α) * t4744)
+  let t4784 := (t4780 + t4775)
+  let t4787 := ((t4758 + t4748) * (0 : α))
+  let t4799 := ((((t4752 * t333) + (t4756 * t325)) + (t4759 * t315)) + t4787)
+  let t4851 := ((((((((1 : α) * t4744) + t4775) + t4774) * t333) + (((t4780 + ((1 : α) * t4746)) + t4774) * t325)) + ((t4784 + ((1 : α) * t4747)) * t315)) + ((t4784 + t4774) * (0 : α)))
+  ⟨((atan2 ((((t4752 * ((2 : α) * (t317 - t316))) + (t4756 * ((2 : α) * (t313 + t312)))) + (t4759 * ((1 : α) - ((2 : α) * (t307 + t306))))) + t4787) ((((t4752 * ((1 : α) - ((2 : α) * (t307 + t322)))) + (t4756 * ((2 : α) * (t327 - t326)))) + (t4759 * ((2 : α) * (t317 + t316)))) + t4787)) * (-(1 : α))), ((atan2 (sqrt ((t4799 * t4799) + (t4851 * t4851))) ((((((((1 : α) * t4738) + t4762) + t4761) * t333) + (((t4767 + ((1 : α) * t4741)) + t4761) * t325)) + ((t4771 + ((1 : α) * t4742)) * t315)) + ((t4771 + t4761) * (0 : α)))) * (-(1 : α))), (t4730 * (-(1 : α)))⟩
 
 /-- extracted from the C++ template at T = Sym; 1 path(s) -/
 def Euler.ctorXYZLayout_YZYr {α : Type} (v : V3 α) : ((V3 α) × Int) :=
@@ -8584,39 +7132,39 @@ def Euler.reorderFromXYZ_YZYr {α : Type} [Add α] [Sub α] [Mul α] [Neg α] [O
   let t66 := (cos (0 : α))
   let t68 := (sin (0 : α))
   let t72 := (-t68)
-  let t4916 := (atan2 t20 t24)
-  let t4917 := (cos t4916)
-  let t4918 := (sin t4916)
-  let t4919 := (t66 * t4917)
-  let t4920 := (t68 * t4917)
-  let t4921 := (-t4918)
-  let t4922 := (t66 * t4918)
-  let t4924 := ((t72 * t66) + (t4922 * t68))
-  let t4925 := (t68 * t4918)
-  let t4927 := ((t66 * t66) + (t4925 * t68))
-  let t4928 := (t4917 * t68)
-  let t4930 := ((t72 * t72) + (t4922 * t66))
-  let t4932 := ((t66 * t72) + (t4925 * t66))
-  let t4933 := (t4917 * t66)
-  let t4934 := ((0 : α) * t4921)
-  let t4935 := ((0 : α) * t4920)
-  let t4938 := ((((1 : α) * t4919) + t4935) + t4934)
-  let t4940 := ((0 : α) * t4919)
-  let t4942 := ((t4940 + ((1 : α) * t4920)) + t4934)
-  let t4944 := (t4940 + t4935)
-  let t4945 := (t4944 + ((1 : α) * t4921))
-  let t4947 := ((0 : α) * t4928)
-  let t4948 := ((0 : α) * t4927)
-  let t4953 := ((0 : α) * t4924)
-  let t4957 := (t4953 + t4948)
-  let t4960 := ((0 : α) * t4933)
-  let t4961 := ((0 : α) * t4932)
-  let t4966 := ((0 : α) * t4930)
-  let t4970 := (t4966 + t4961)
-  let t4973 := ((t4944 + t4934) * (0 : α))
-  let t4985 := ((((t4938 * t20) + (t4942 * t22)) + (t4945 * t24)) + t4973)
-  let t5037 := ((((((((1 : α) * t4930) + t4961) + t4960) * t20) + (((t4966 + ((1 : α) * t4932)) + t4960) * t22)) + ((t4970 + ((1 : α) * t4933)) * t24)) + ((t4970 + t4960) * (0 : α)))
-  (⟨((atan2 ((((t4938 * (-t8)) + (t4942 * (t5 * t7))) + (t4945 * (t5 * t4))) + t4973) ((((t4938 * (t5 * t6)) + (t4942 * ((t8 * t12) - t11))) + (t4945 * ((t8 * t10) + t13))) + t4973)) * (-(1 : α))), ((atan2 (sqrt ((t4985 * t4985) + (t5037 * t5037))) ((((((((1 : α) * t4924) + t4948) + t4947) * t20) + (((t4953 + ((1 : α) * t4927)) + t4947) * t22)) + ((t4957 + ((1 : α) * t4928)) * t24)) + ((t4957 + t4947) * (0 : α)))) * (-(1 : α))), (t4916 * (-(1 : α)))⟩, (4112 : Int))
+  let t4874 := (atan2 t20 t24)
+  let t4875 := (cos t4874)
+  let t4876 := (sin t4874)
+  let t4877 := (t66 * t4875)
+  let t4878 := (t68 * t4875)
+  let t4879 := (-t4876)
+  let t4880 := (t66 * t4876)
+  let t4882 := ((t72 * t66) + (t4880 * t68))
+  let t4883 := (t68 * t4876)
+  let t4885 := ((t66 * t66) + (t4883 * t68))
+  let t4886 := (t4875 * t68)
+  let t4888 := ((t72 * t72) + (t4880 * t66))
+  let t4890 := ((t66 * t72) + (t4883 * t66))
+  let t4891 := (t4875 * t66)
+  let t4892 := ((0 : α) * t4879)
+  let t4893 := ((0 : α) * t4878)
+  let t4896 := ((((1 : α) * t4877) + t4893) + t4892)
+  let t4898 := ((0 : α) * t4877)
+  let t4900 := ((t4898 + ((1 : α) * t4878)) + t4892)
+  let t4902 := (t4898 + t4893)
+  let t4903 := (t4902 + ((1 : α) * t4879))
+  let t4905 := ((0 : α) * t4886)
+  let t4906 := ((0 : α) * t4885)
+  let t4911 := ((0 : α) * t4882)
+  let t4915 := (t4911 + t4906)
+  let t4918 := ((0 : α) * t4891)
+  let t4919 := ((0 : α) * t4890)
+  let t4924 := ((0 : α) * t4888)
+  let t4928 := (t4924 + t4919)
+  let t4931 := ((t4902 + t4892) * (0 : α))
+  let t4943 := ((((t4896 * t20) + (t4900 * t22)) + (t4903 * t24)) + t4931)
+  let t4995 := ((((((((1 : α) * t4888) + t4919) + t4918) * t20) + (((t4924 + ((1 : α) * t4890)) + t4918) * t22)) + ((t4928 + ((1 : α) * t4891)) * t24)) + ((t4928 + t4918) * (0 : α)))
+  (⟨((atan2 ((((t4896 * (-t8)) + (t4900 * (t5 * t7))) + (t4903 * (t5 * t4))) + t4931) ((((t4896 * (t5 * t6)) + (t4900 * ((t8 * t12) - t11))) + (t4903 * ((t8 * t10) + t13))) + t4931)) * (-(1 : α))), ((atan2 (sqrt ((t4943 * t4943) + (t4995 * t4995))) ((((((((1 : α) * t4882) + t4906) + t4905) * t20) + (((t4911 + ((1 : α) * t4885)) + t4905) * t22)) + ((t4915 + ((1 : α) * t4886)) * t24)) + ((t4915 + t4905) * (0 : α)))) * (-(1 : α))), (t4874 * (-(1 : α)))⟩, (4112 : Int))
 
 /-- extracted from the C++ template at T = Sym; 1 path(s) -/
 def Euler.reorderToZYXr_YZYr {α : Type} [Add α] [Sub α] [Mul α] [Neg α] [OfNat α 0] [OfNat α 1] (sqrt : α → α) (sin : α → α) (cos : α → α) (atan2 : α → α → α) (a : V3 α) : ((V3 α) × Int) :=
@@ -8633,45 +7181,27 @@ def Euler.reorderToZYXr_YZYr {α : Type} [Add α] [Sub α] [Mul α] [Neg α] [Of
   let t99 := (t95 + t90)
   let t100 := (t99 + ((1 : α) * t72))
   let t128 := ((t99 + t89) * (0 : α))
-  let t627 := (a.x * (-(1 : α)))
-  let t628 := (a.y * (-(1 : α)))
-  let t629 := (a.z * (-(1 : α)))
-  let t630 := (cos t627)
-  let t631 := (cos t628)
-  let t632 := (cos t629)
-  let t633 := (sin t627)
-  let t634 := (sin t628)
-  let t635 := (sin t629)
-  let t3577 := (t634 * t633)
-  let t3579 := (t634 * t635)
-  let t3580 := (-t631)
-  let t6975 := (t632 * t630)
-  let t6976 := (t632 * t633)
-  let t6977 := (t635 * t630)
-  let t6978 := (t635 * t633)
-  let t7946 := (t634 * t632)
-  let t7948 := ((t3580 * t6978) + t6975)
-  let t7950 := ((t3580 * t6976) - t6977)
-  let t7951 := ((-t634) * t630)
-  let t7955 := ((t631 * t6975) - t6978)
-  let t8223 := (atan2 t7951 t7955)
-  let t8224 := (-t8223)
-  let t8225 := (cos t8224)
-  let t8226 := (sin t8224)
-  let t8229 := ((t72 * t8225) + ((t66 * t68) * t8226))
-  let t8232 := ((t66 * t8225) + ((t68 * t68) * t8226))
-  let t8233 := (t66 * t8226)
-  let t8241 := ((0 : α) * t8233)
-  let t8242 := ((0 : α) * t8232)
-  let t8245 := ((((1 : α) * t8229) + t8242) + t8241)
-  let t8247 := ((0 : α) * t8229)
-  let t8249 := ((t8247 + ((1 : α) * t8232)) + t8241)
-  let t8251 := (t8247 + t8242)
-  let t8252 := (t8251 + ((1 : α) * t8233))
-  let t8271 := ((((t93 * t7948) + (t97 * t3577)) + (t100 * t7950)) + t128)
-  let t8275 := ((((t93 * t3579) + (t97 * t631)) + (t100 * t7946)) + t128)
-  let t8282 := ((t8251 + t8241) * (0 : α))
-  (⟨(atan2 (-((((t8245 * t7948) + (t8249 * t3577)) + (t8252 * t7950)) + t8282)) ((((t8245 * t3579) + (t8249 * t631)) + (t8252 * t7946)) + t8282)), (atan2 (-((((t93 * ((t631 * t6977) + t6976)) + (t97 * t7951)) + (t100 * t7955)) + t128)) (sqrt ((t8271 * t8271) + (t8275 * t8275)))), t8223⟩, (256 : Int))
+  let t622 := (a.x * (-(1 : α)))
+  let t623 := (a.y * (-(1 : α)))
+  let t624 := (a.z * (-(1 : α)))
+  let t625 := (cos t622)
+  let t626 := (cos t623)
+  let t627 := (cos t624)
+  let t628 := (sin t622)
+  let t629 := (sin t623)
+  let t630 := (sin t624)
+  let t3539 := (t629 * t630)
+  let t3540 := (-t626)
+  let t6929 := (t627 * t625)
+  let t6930 := (t627 * t628)
+  let t6931 := (t630 * t625)
+  let t6932 := (t630 * t628)
+  let t7891 := ((t3540 * t6932) + t6929)
+  let t7894 := ((-t629) * t625)
+  let t7898 := ((t626 * t6929) - t6932)
+  let t8212 := ((((t93 * t7891) + (t97 * (t629 * t628))) + (t100 * ((t3540 * t6930) - t6931))) + t128)
+  let t8216 := ((((t93 * t3539) + (t97 * t626)) + (t100 * (t629 * t627))) + t128)
+  (⟨(atan2 t3539 t7891), (atan2 (-((((t93 * ((t626 * t6931) + t6930)) + (t97 * t7894)) + (t100 * t7898)) + t128)) (sqrt ((t8212 * t8212) + (t8216 * t8216)))), (atan2 t7894 t7898)⟩, (256 : Int))
 
 /-- extracted from the C++ template at T = Sym; 1 path(s) -/
 def Euler.toMatrix33_ZYZr {α : Type} [Add α] [Sub α] [Mul α] [Neg α] (sin : α → α) (cos : α → α) (a : V3 α) : (M33 α) :=
@@ -8681,12 +7211,12 @@ def Euler.toMatrix33_ZYZr {α : Type} [Add α] [Sub α] [Mul α] [Neg α] (sin :
   let t7 := (sin a.x)
   let t8 := (sin a.y)
   let t9 := (sin a.z)
-  let t4088 := (-t5)
-  let t7134 := (t6 * t4)
-  let t7135 := (t6 * t7)
-  let t7136 := (t9 * t4)
-  let t7137 := (t9 * t7)
-  ⟨t5, (t8 * t7), ((-t8) * t4), (t8 * t9), ((t4088 * t7137) + t7134), ((t5 * t7136) + t7135), (t8 * t6), ((t4088 * t7135) - t7136), ((t5 * t7134) - t7137)⟩
+  let t4047 := (-t5)
+  let t7087 := (t6 * t4)
+  let t7088 := (t6 * t7)
+  let t7089 := (t9 * t4)
+  let t7090 := (t9 * t7)
+  ⟨t5, (t8 * t7), ((-t8) * t4), (t8 * t9), ((t4047 * t7090) + t7087), ((t5 * t7089) + t7088), (t8 * t6), ((t4047 * t7088) - t7089), ((t5 * t7087) - t7090)⟩
 
 /-- extracted from the C++ template at T = Sym; 1 path(s) -/
 def Euler.toMatrix44_ZYZr {α : Type} [Add α] [Sub α] [Mul α] [Neg α] [OfNat α 0] [OfNat α 1] (sin : α → α) (cos : α → α) (a : V3 α) : (M44 α) :=
@@ -8696,12 +7226,12 @@ def Euler.toMatrix44_ZYZr {α : Type} [Add α] [Sub α] [Mul α] [Neg α] [OfNat
   let t7 := (sin a.x)
   let t8 := (sin a.y)
   let t9 := (sin a.z)
-  let t4088 := (-t5)
-  let t7134 := (t6 * t4)
-  let t7135 := (t6 * t7)
-  let t7136 := (t9 * t4)
-  let t7137 := (t9 * t7)
-  ⟨t5, (t8 * t7), ((-t8) * t4), (0 : α), (t8 * t9), ((t4088 * t7137) + t7134), ((t5 * t7136) + t7135), (0 : α), (t8 * t6), ((t4088 * t7135) - t7136), ((t5 * t7134) - t7137), (0 : α), (0 : α), (0 : α), (0 : α), (1 : α)⟩
+  let t4047 := (-t5)
+  let t7087 := (t6 * t4)
+  let t7088 := (t6 * t7)
+  let t7089 := (t9 * t4)
+  let t7090 := (t9 * t7)
+  ⟨t5, (t8 * t7), ((-t8) * t4), (0 : α), (t8 * t9), ((t4047 * t7090) + t7087), ((t5 * t7089) + t7088), (0 : α), (t8 * t6), ((t4047 * t7088) - t7089), ((t5 * t7087) - t7090), (0 : α), (0 : α), (0 : α), (0 : α), (1 : α)⟩
 
 /-- extracted from the C++ template at T = Sym; 1 path(s) -/
 def Euler.toQuat_ZYZr {α : Type} [Add α] [Sub α] [Mul α] [Div α] [OfNat α 1] [OfNat α 2] (sin : α → α) (cos : α → α) (a : V3 α) : (Quat α) :=
@@ -8714,11 +7244,11 @@ def Euler.toQuat_ZYZr {α : Type} [Add α] [Sub α] [Mul α] [Div α] [OfNat α 
   let t35 := (sin t29)
   let t36 := (sin t30)
   let t37 := (sin t31)
-  let t6987 := (t34 * t32)
-  let t6988 := (t34 * t35)
-  let t6989 := (t37 * t32)
-  let t6990 := (t37 * t35)
-  ⟨(t33 * (t6987 - t6990)), ⟨(t33 * (t6988 + t6989)), ((t36 * (t6987 + t6990)) * (1 : α)), (t36 * (t6988 - t6989))⟩⟩
+  let t6941 := (t34 * t32)
+  let t6942 := (t34 * t35)
+  let t6943 := (t37 * t32)
+  let t6944 := (t37 * t35)
+  ⟨(t33 * (t6941 - t6944)), ⟨(t33 * (t6942 + t6943)), ((t36 * (t6941 + t6944)) * (1 : α)), (t36 * (t6942 - t6943))⟩⟩
 
 /-- extracted from the C++ template at T = Sym; 1 path(s) -/
 def Euler.extractM33_ZYZr {α : Type} [Add α] [Mul α] [Neg α] [OfNat α 0] [OfNat α 1] (sqrt : α → α) (sin : α → α) (cos : α → α) (atan2 : α → α → α) (m : M33 α) : (V3 α) :=
@@ -8733,32 +7263,32 @@ def Euler.extractM33_ZYZr {α : Type} [Add α] [Mul α] [Neg α] [OfNat α 0] [O
   let t90 := ((0 : α) * t71)
   let t95 := ((0 : α) * t70)
   let t99 := (t95 + t90)
-  let t4103 := (atan2 m.x10 m.x20)
-  let t4104 := (-t4103)
-  let t4105 := (cos t4104)
-  let t4106 := (sin t4104)
-  let t4109 := ((t72 * t4105) + (t73 * t4106))
-  let t4111 := (t66 * t4105)
-  let t4112 := (t4111 + (t77 * t4106))
-  let t4113 := (t66 * t4106)
-  let t4115 := (-t4106)
-  let t4117 := ((t72 * t4115) + (t73 * t4105))
-  let t4120 := ((t66 * t4115) + (t77 * t4105))
-  let t4121 := ((0 : α) * t4113)
-  let t4122 := ((0 : α) * t4112)
-  let t4125 := ((((1 : α) * t4109) + t4122) + t4121)
-  let t4127 := ((0 : α) * t4109)
-  let t4129 := ((t4127 + ((1 : α) * t4112)) + t4121)
-  let t4131 := (t4127 + t4122)
-  let t4132 := (t4131 + ((1 : α) * t4113))
-  let t4134 := ((0 : α) * t4111)
-  let t4135 := ((0 : α) * t4120)
-  let t4140 := ((0 : α) * t4117)
-  let t4144 := (t4140 + t4135)
-  let t4147 := ((t4131 + t4121) * (0 : α))
-  let t4153 := ((((t4125 * m.x00) + (t4129 * m.x10)) + (t4132 * m.x20)) + t4147)
-  let t4179 := ((((((((1 : α) * t4117) + t4135) + t4134) * m.x00) + (((t4140 + ((1 : α) * t4120)) + t4134) * m.x10)) + ((t4144 + ((1 : α) * t4111)) * m.x20)) + ((t4144 + t4134) * (0 : α)))
-  ⟨(atan2 ((((t4125 * m.x02) + (t4129 * m.x12)) + (t4132 * m.x22)) + t4147) ((((t4125 * m.x01) + (t4129 * m.x11)) + (t4132 * m.x21)) + t4147)), (atan2 (sqrt ((t4153 * t4153) + (t4179 * t4179))) ((((((((1 : α) * t70) + t90) + t89) * m.x00) + (((t95 + ((1 : α) * t71)) + t89) * m.x10)) + ((t99 + ((1 : α) * t72)) * m.x20)) + ((t99 + t89) * (0 : α)))), t4103⟩
+  let t4062 := (atan2 m.x10 m.x20)
+  let t4063 := (-t4062)
+  let t4064 := (cos t4063)
+  let t4065 := (sin t4063)
+  let t4068 := ((t72 * t4064) + (t73 * t4065))
+  let t4070 := (t66 * t4064)
+  let t4071 := (t4070 + (t77 * t4065))
+  let t4072 := (t66 * t4065)
+  let t4074 := (-t4065)
+  let t4076 := ((t72 * t4074) + (t73 * t4064))
+  let t4079 := ((t66 * t4074) + (t77 * t4064))
+  let t4080 := ((0 : α) * t4072)
+  let t4081 := ((0 : α) * t4071)
+  let t4084 := ((((1 : α) * t4068) + t4081) + t4080)
+  let t4086 := ((0 : α) * t4068)
+  let t4088 := ((t4086 + ((1 : α) * t4071)) + t4080)
+  let t4090 := (t4086 + t4081)
+  let t4091 := (t4090 + ((1 : α) * t4072))
+  let t4093 := ((0 : α) * t4070)
+  let t4094 := ((0 : α) * t4079)
+  let t4099 := ((0 : α) * t4076)
+  let t4103 := (t4099 + t4094)
+  let t4106 := ((t4090 + t4080) * (0 : α))
+  let t4112 := ((((t4084 * m.x00) + (t4088 * m.x10)) + (t4091 * m.x20)) + t4106)
+  let t4138 := ((((((((1 : α) * t4076) + t4094) + t4093) * m.x00) + (((t4099 + ((1 : α) * t4079)) + t4093) * m.x10)) + ((t4103 + ((1 : α) * t4070)) * m.x20)) + ((t4103 + t4093) * (0 : α)))
+  ⟨(atan2 ((((t4084 * m.x02) + (t4088 * m.x12)) + (t4091 * m.x22)) + t4106) ((((t4084 * m.x01) + (t4088 * m.x11)) + (t4091 * m.x21)) + t4106)), (atan2 (sqrt ((t4112 * t4112) + (t4138 * t4138))) ((((((((1 : α) * t70) + t90) + t89) * m.x00) + (((t95 + ((1 : α) * t71)) + t89) * m.x10)) + ((t99 + ((1 : α) * t72)) * m.x20)) + ((t99 + t89) * (0 : α)))), t4062⟩
 
 /-- extracted from the C++ template at T = Sym; 1 path(s) -/
 def Euler.extractM44_ZYZr {α : Type} [Add α] [Mul α] [Neg α] [OfNat α 0] [OfNat α 1] (sqrt : α → α) (sin : α → α) (cos : α → α) (atan2 : α → α → α) (m : M44 α) : (V3 α) :=
@@ -8773,32 +7303,32 @@ def Euler.extractM44_ZYZr {α : Type} [Add α] [Mul α] [Neg α] [OfNat α 0] [O
   let t90 := ((0 : α) * t71)
   let t95 := ((0 : α) * t70)
   let t99 := (t95 + t90)
-  let t4103 := (atan2 m.x10 m.x20)
-  let t4104 := (-t4103)
-  let t4105 := (cos t4104)
-  let t4106 := (sin t4104)
-  let t4109 := ((t72 * t4105) + (t73 * t4106))
-  let t4111 := (t66 * t4105)
-  let t4112 := (t4111 + (t77 * t4106))
-  let t4113 := (t66 * t4106)
-  let t4115 := (-t4106)
-  let t4117 := ((t72 * t4115) + (t73 * t4105))
-  let t4120 := ((t66 * t4115) + (t77 * t4105))
-  let t4121 := ((0 : α) * t4113)
-  let t4122 := ((0 : α) * t4112)
-  let t4125 := ((((1 : α) * t4109) + t4122) + t4121)
-  let t4127 := ((0 : α) * t4109)
-  let t4129 := ((t4127 + ((1 : α) * t4112)) + t4121)
-  let t4131 := (t4127 + t4122)
-  let t4132 := (t4131 + ((1 : α) * t4113))
-  let t4133 := (t4131 + t4121)
-  let t4134 := ((0 : α) * t4111)
-  let t4135 := ((0 : α) * t4120)
-  let t4140 := ((0 : α) * t4117)
-  let t4144 := (t4140 + t4135)
-  let t4206 := ((((t4125 * m.x00) + (t4129 * m.x10)) + (t4132 * m.x20)) + (t4133 * m.x30))
-  let t4219 := ((((((((1 : α) * t4117) + t4135) + t4134) * m.x00) + (((t4140 + ((1 : α) * t4120)) + t4134) * m.x10)) + ((t4144 + ((1 : α) * t4111)) * m.x20)) + ((t4144 + t4134) * m.x30))
-  ⟨(atan2 ((((t4125 * m.x02) + (t4129 * m.x12)) + (t4132 * m.x22)) + (t4133 * m.x32)) ((((t4125 * m.x01) + (t4129 * m.x11)) + (t4132 * m.x21)) + (t4133 * m.x31))), (atan2 (sqrt ((t4206 * t4206) + (t4219 * t4219))) ((((((((1 : α) * t70) + t90) + t89) * m.x00) + (((t95 + ((1 : α) * t71)) + t89) * m.x10)) + ((t99 + ((1 : α) * t72)) * m.x20)) + ((t99 + t89) * m.x30))), t4103⟩
+  let t4062 := (atan2 m.x10 m.x20)
+  let t4063 := (-t4062)
+  let t4064 := (cos t4063)
+  let t4065 := (sin t4063)
+  let t4068 := ((t72 * t4064) + (t73 * t4065))
+  let t4070 := (t66 * t4064)
+  let t4071 := (t4070 + (t77 * t4065))
+  let t4072 := (t66 * t4065)
+  let t4074 := (-t4065)
+  let t4076 := ((t72 * t4074) + (t73 * t4064))
+  let t4079 := ((t66 * t4074) + (t77 * t4064))
+  let t4080 := ((0 : α) * t4072)
+  let t4081 := ((0 : α) * t4071)
+  let t4084 := ((((1 : α) * t4068) + t4081) + t4080)
+  let t4086 := ((0 : α) * t4068)
+  let t4088 := ((t4086 + ((1 : α) * t4071)) + t4080)
+  let t4090 := (t4086 + t4081)
+  let t4091 := (t4090 + ((1 : α) * t4072))
+  let t4092 := (t4090 + t4080)
+  let t4093 := ((0 : α) * t4070)
+  let t4094 := ((0 : α) * t4079)
+  let t4099 := ((0 : α) * t4076)
+  let t4103 := (t4099 + t4094)
+  let t4165 := ((((t4084 * m.x00) + (t4088 * m.x10)) + (t4091 * m.x20)) + (t4092 * m.x30))
+  let t4178 := ((((((((1 : α) * t4076) + t4094) + t4093) * m.x00) + (((t4099 + ((1 : α) * t4079)) + t4093) * m.x10)) + ((t4103 + ((1 : α) * t4070)) * m.x20)) + ((t4103 + t4093) * m.x30))
+  ⟨(atan2 ((((t4084 * m.x02) + (t4088 * m.x12)) + (t4091 * m.x22)) + (t4092 * m.x32)) ((((t4084 * m.x01) + (t4088 * m.x11)) + (t4091 * m.x21)) + (t4092 * m.x31))), (atan2 (sqrt ((t4165 * t4165) + (t4178 * t4178))) ((((((((1 : α) * t70) + t90) + t89) * m.x00) + (((t95 + ((1 : α) * t71)) + t89) * m.x10)) + ((t99 + ((1 : α) * t72)) * m.x20)) + ((t99 + t89) * m.x30))), t4062⟩
 
 /-- extracted from the C++ template at T = Sym; 1 path(s) -/
 def Euler.ctorM33_ZYZr {α : Type} [Add α] [Mul α] [Neg α] [OfNat α 0] [OfNat α 1] (sqrt : α → α) (sin : α → α) (cos : α → α) (atan2 : α → α → α) (m : M33 α) : ((V3 α) × Int) :=
@@ -8813,32 +7343,32 @@ def Euler.ctorM33_ZYZr {α : Type} [Add α] [Mul α] [Neg α] [OfNat α 0] [OfNa
   let t90 := ((0 : α) * t71)
   let t95 := ((0 : α) * t70)
   let t99 := (t95 + t90)
-  let t4103 := (atan2 m.x10 m.x20)
-  let t4104 := (-t4103)
-  let t4105 := (cos t4104)
-  let t4106 := (sin t4104)
-  let t4109 := ((t72 * t4105) + (t73 * t4106))
-  let t4111 := (t66 * t4105)
-  let t4112 := (t4111 + (t77 * t4106))
-  let t4113 := (t66 * t4106)
-  let t4115 := (-t4106)
-  let t4117 := ((t72 * t4115) + (t73 * t4105))
-  let t4120 := ((t66 * t4115) + (t77 * t4105))
-  let t4121 := ((0 : α) * t4113)
-  let t4122 := ((0 : α) * t4112)
-  let t4125 := ((((1 : α) * t4109) + t4122) + t4121)
-  let t4127 := ((0 : α) * t4109)
-  let t4129 := ((t4127 + ((1 : α) * t4112)) + t4121)
-  let t4131 := (t4127 + t4122)
-  let t4132 := (t4131 + ((1 : α) * t4113))
-  let t4134 := ((0 : α) * t4111)
-  let t4135 := ((0 : α) * t4120)
-  let t4140 := ((0 : α) * t4117)
-  let t4144 := (t4140 + t4135)
-  let t4147 := ((t4131 + t4121) * (0 : α))
-  let t4153 := ((((t4125 * m.x00) + (t4129 * m.x10)) + (t4132 * m.x20)) + t4147)
-  let t4179 := ((((((((1 : α) * t4117) + t4135) + t4134) * m.x00) + (((t4140 + ((1 : α) * t4120)) + t4134) * m.x10)) + ((t4144 + ((1 : α) * t4111)) * m.x20)) + ((t4144 + t4134) * (0 : α)))
-  (⟨(atan2 ((((t4125 * m.x02) + (t4129 * m.x12)) + (t4132 * m.x22)) + t4147) ((((t4125 * m.x01) + (t4129 * m.x11)) + (t4132 * m.x21)) + t4147)), (atan2 (sqrt ((t4153 * t4153) + (t4179 * t4179))) ((((((((1 : α) * t70) + t90) + t89) * m.x00) + (((t95 + ((1 : α) * t71)) + t89) * m.x10)) + ((t99 + ((1 : α) * t72)) * m.x20)) + ((t99 + t89) * (0 : α)))), t4103⟩, (272 : Int))
+  let t4062 := (atan2 m.x10 m.x20)
+  let t4063 := (-t4062)
+  let t4064 := (cos t4063)
+  let t4065 := (sin t4063)
+  let t4068 := ((t72 * t4064) + (t73 * t4065))
+  let t4070 := (t66 * t4064)
+  let t4071 := (t4070 + (t77 * t4065))
+  let t4072 := (t66 * t4065)
+  let t4074 := (-t4065)
+  let t4076 := ((t72 * t4074) + (t73 * t4064))
+  let t4079 := ((t66 * t4074) + (t77 * t4064))
+  let t4080 := ((0 : α) * t4072)
+  let t4081 := ((0 : α) * t4071)
+  let t4084 := ((((1 : α) * t4068) + t4081) + t4080)
+  let t4086 := ((0 : α) * t4068)
+  let t4088 := ((t4086 + ((1 : α) * t4071)) + t4080)
+  let t4090 := (t4086 + t4081)
+  let t4091 := (t4090 + ((1 : α) * t4072))
+  let t4093 := ((0 : α) * t4070)
+  let t4094 := ((0 : α) * t4079)
+  let t4099 := ((0 : α) * t4076)
+  let t4103 := (t4099 + t4094)
+  let t4106 := ((t4090 + t4080) * (0 : α))
+  let t4112 := ((((t4084 * m.x00) + (t4088 * m.x10)) + (t4091 * m.x20)) + t4106)
+  let t4138 := ((((((((1 : α) * t4076) + t4094) + t4093) * m.x00) + (((t4099 + ((1 : α) * t4079)) + t4093) * m.x10)) + ((t4103 + ((1 : α) * t4070)) * m.x20)) + ((t4103 + t4093) * (0 : α)))
+  (⟨(atan2 ((((t4084 * m.x02) + (t4088 * m.x12)) + (t4091 * m.x22)) + t4106) ((((t4084 * m.x01) + (t4088 * m.x11)) + (t4091 * m.x21)) + t4106)), (atan2 (sqrt ((t4112 * t4112) + (t4138 * t4138))) ((((((((1 : α) * t70) + t90) + t89) * m.x00) + (((t95 + ((1 : α) * t71)) + t89) * m.x10)) + ((t99 + ((1 : α) * t72)) * m.x20)) + ((t99 + t89) * (0 : α)))), t4062⟩, (272 : Int))
 
 /-- extracted from the C++ template at T = Sym; 1 path(s) -/
 def Euler.ctorM44_ZYZr {α : Type} [Add α] [Mul α] [Neg α] [OfNat α 0] [OfNat α 1] (sqrt : α → α) (sin : α → α) (cos : α → α) (atan2 : α → α → α) (m : M44 α) : ((V3 α) × Int) :=
@@ -8853,32 +7383,32 @@ def Euler.ctorM44_ZYZr {α : Type} [Add α] [Mul α] [Neg α] [OfNat α 0] [OfNa
   let t90 := ((0 : α) * t71)
   let t95 := ((0 : α) * t70)
   let t99 := (t95 + t90)
-  let t4103 := (atan2 m.x10 m.x20)
-  let t4104 := (-t4103)
-  let t4105 := (cos t4104)
-  let t4106 := (sin t4104)
-  let t4109 := ((t72 * t4105) + (t73 * t4106))
-  let t4111 := (t66 * t4105)
-  let t4112 := (t4111 + (t77 * t4106))
-  let t4113 := (t66 * t4106)
-  let t4115 := (-t4106)
-  let t4117 := ((t72 * t4115) + (t73 * t4105))
-  let t4120 := ((t66 * t4115) + (t77 * t4105))
-  let t4121 := ((0 : α) * t4113)
-  let t4122 := ((0 : α) * t4112)
-  let t4125 := ((((1 : α) * t4109) + t4122) + t4121)
-  let t4127 := ((0 : α) * t4109)
-  let t4129 := ((t4127 + ((1 : α) * t4112)) + t4121)
-  let t4131 := (t4127 + t4122)
-  let t4132 := (t4131 + ((1 : α) * t4113))
-  let t4133 := (t4131 + t4121)
-  let t4134 := ((0 : α) * t4111)
-  let t4135 := ((0 : α) * t4120)
-  let t4140 := ((0 : α) * t4117)
-  let t4144 := (t4140 + t4135)
-  let t4206 := ((((t4125 * m.x00) + (t4129 * m.x10)) + (t4132 * m.x20)) + (t4133 * m.x30))
-  let t4219 := ((((((((1 : α) * t4117) + t4135) + t4134) * m.x00) + (((t4140 + ((1 : α) * t4120)) + t4134) * m.x10)) + ((t4144 + ((1 : α) * t4111)) * m.x20)) + ((t4144 + t4134) * m.x30))
-  (⟨(atan2 ((((t4125 * m.x02) + (t4129 * m.x12)) + (t4132 * m.x22)) + (t4133 * m.x32)) ((((t4125 * m.x01) + (t4129 * m.x11)) + (t4132 * m.x21)) + (t4133 * m.x31))), (atan2 (sqrt ((t4206 * t4206) + (t4219 * t4219))) ((((((((1 : α) * t70) + t90) + t89) * m.x00) + (((t95 + ((1 : α) * t71)) + t89) * m.x10)) + ((t99 + ((1 : α) * t72)) * m.x20)) + ((t99 + t89) * m.x30))), t4103⟩, (272 : Int))
+  let t4062 := (atan2 m.x10 m.x20)
+  let t4063 := (-t4062)
+  let t4064 := (cos t4063)
+  let t4065 := (sin t4063)
+  let t4068 := ((t72 * t4064) + (t73 * t4065))
+  let t4070 := (t66 * t4064)
+  let t4071 := (t4070 + (t77 * t4065))
+  let t4072 := (t66 * t4065)
+  let t4074 := (-t4065)
+  let t4076 := ((t72 * t4074) + (t73 * t4064))
+  let t4079 := ((t66 * t4074) + (t77 * t4064))
+  let t4080 := ((0 : α) * t4072)
+  let t4081 := ((0 : α) * t4071)
+  let t4084 := ((((1 : α) * t4068) + t4081) + t4080)
+  let t4086 := ((0 : α) * t4068)
+  let t4088 := ((t4086 + ((1 : α) * t4071)) + t4080)
+  let t4090 := (t4086 + t4081)
+  let t4091 := (t4090 + ((1 : α) * t4072))
+  let t4092 := (t4090 + t4080)
+  let t4093 := ((0 : α) * t4070)
+  let t4094 := ((0 : α) * t4079)
+  let t4099 := ((0 : α) * t4076)
+  let t4103 := (t4099 + t4094)
+  let t4165 := ((((t4084 * m.x00) + (t4088 * m.x10)) + (t4091 * m.x20)) + (t4092 * m.x30))
+  let t4178 := ((((((((1 : α) * t4076) + t4094) + t4093) * m.x00) + (((t4099 + ((1 : α) * t4079)) + t4093) * m.x10)) + ((t4103 + ((1 : α) * t4070)) * m.x20)) + ((t4103 + t4093) * m.x30))
+  (⟨(atan2 ((((t4084 * m.x02) + (t4088 * m.x12)) + (t4091 * m.x22)) + (t4092 * m.x32)) ((((t4084 * m.x01) + (t4088 * m.x11)) + (t4091 * m.x21)) + (t4092 * m.x31))), (atan2 (sqrt ((t4165 * t4165) + (t4178 * t4178))) ((((((((1 : α) * t70) + t90) + t89) * m.x00) + (((t95 + ((1 : α) * t71)) + t89) * m.x10)) + ((t99 + ((1 : α) * t72)) * m.x20)) + ((t99 + t89) * m.x30))), t4062⟩, (272 : Int))
 
 /-- extracted from the C++ template at T = Sym; 1 path(s) -/
 def Euler.extractQuat_ZYZr {α : Type} [Add α] [Sub α] [Mul α] [Neg α] [OfNat α 0] [OfNat α 1] [OfNat α 2] (sqrt : α → α) (sin : α → α) (cos : α → α) (atan2 : α → α → α) (q : Quat α) : (V3 α) :=
@@ -8893,44 +7423,44 @@ def Euler.extractQuat_ZYZr {α : Type} [Add α] [Sub α] [Mul α] [Neg α] [OfNa
   let t90 := ((0 : α) * t71)
   let t95 := ((0 : α) * t70)
   let t99 := (t95 + t90)
-  let t309 := (q.v.x * q.v.x)
-  let t310 := (q.v.y * q.v.y)
-  let t315 := (q.v.x * q.r)
-  let t316 := (q.v.y * q.v.z)
-  let t319 := (q.v.y * q.r)
-  let t320 := (q.v.z * q.v.x)
-  let t322 := ((2 : α) * (t320 + t319))
-  let t325 := (q.v.z * q.v.z)
-  let t329 := (q.v.z * q.r)
-  let t330 := (q.v.x * q.v.y)
-  let t332 := ((2 : α) * (t330 - t329))
-  let t339 := ((1 : α) - ((2 : α) * (t310 + t325)))
-  let t4237 := (atan2 t332 t322)
-  let t4238 := (-t4237)
-  let t4239 := (cos t4238)
-  let t4240 := (sin t4238)
-  let t4243 := ((t72 * t4239) + (t73 * t4240))
-  let t4245 := (t66 * t4239)
-  let t4246 := (t4245 + (t77 * t4240))
-  let t4247 := (t66 * t4240)
-  let t4249 := (-t4240)
-  let t4251 := ((t72 * t4249) + (t73 * t4239))
-  let t4254 := ((t66 * t4249) + (t77 * t4239))
-  let t4255 := ((0 : α) * t4247)
-  let t4256 := ((0 : α) * t4246)
-  let t4259 := ((((1 : α) * t4243) + t4256) + t4255)
-  let t4261 := ((0 : α) * t4243)
-  let t4263 := ((t4261 + ((1 : α) * t4246)) + t4255)
-  let t4265 := (t4261 + t4256)
-  let t4266 := (t4265 + ((1 : α) * t4247))
-  let t4268 := ((0 : α) * t4245)
-  let t4269 := ((0 : α) * t4254)
-  let t4274 := ((0 : α) * t4251)
-  let t4278 := (t4274 + t4269)
-  let t4281 := ((t4265 + t4255) * (0 : α))
-  let t4287 := ((((t4259 * t339) + (t4263 * t332)) + (t4266 * t322)) + t4281)
-  let t4313 := ((((((((1 : α) * t4251) + t4269) + t4268) * t339) + (((t4274 + ((1 : α) * t4254)) + t4268) * t332)) + ((t4278 + ((1 : α) * t4245)) * t322)) + ((t4278 + t4268) * (0 : α)))
-  ⟨(atan2 ((((t4259 * ((2 : α) * (t320 - t319))) + (t4263 * ((2 : α) * (t316 + t315)))) + (t4266 * ((1 : α) - ((2 : α) * (t310 + t309))))) + t4281) ((((t4259 * ((2 : α) * (t330 + t329))) + (t4263 * ((1 : α) - ((2 : α) * (t325 + t309))))) + (t4266 * ((2 : α) * (t316 - t315)))) + t4281)), (atan2 (sqrt ((t4287 * t4287) + (t4313 * t4313))) ((((((((1 : α) * t70) + t90) + t89) * t339) + (((t95 + ((1 : α) * t71)) + t89) * t332)) + ((t99 + ((1 : α) * t72)) * t322)) + ((t99 + t89) * (0 : α)))), t4237⟩
+  let t306 := (q.v.x * q.v.x)
+  let t307 := (q.v.y * q.v.y)
+  let t312 := (q.v.x * q.r)
+  let t313 := (q.v.y * q.v.z)
+  let t316 := (q.v.y * q.r)
+  let t317 := (q.v.z * q.v.x)
+  let t319 := ((2 : α) * (t317 + t316))
+  let t322 := (q.v.z * q.v.z)
+  let t326 := (q.v.z * q.r)
+  let t327 := (q.v.x * q.v.y)
+  let t329 := ((2 : α) * (t327 - t326))
+  let t336 := ((1 : α) - ((2 : α) * (t307 + t322)))
+  let t4196 := (atan2 t329 t319)
+  let t4197 := (-t4196)
+  let t4198 := (cos t4197)
+  let t4199 := (sin t4197)
+  let t4202 := ((t72 * t4198) + (t73 * t4199))
+  let t4204 := (t66 * t4198)
+  let t4205 := (t4204 + (t77 * t4199))
+  let t4206 := (t66 * t4199)
+  let t4208 := (-t4199)
+  let t4210 := ((t72 * t4208) + (t73 * t4198))
+  let t4213 := ((t66 * t4208) + (t77 * t4198))
+  let t4214 := ((0 : α) * t4206)
+  let t4215 := ((0 : α) * t4205)
+  let t4218 := ((((1 : α) * t4202) + t4215) + t4214)
+  let t4220 := ((0 : α) * t4202)
+  let t4222 := ((t4220 + ((1 : α) * t4205)) + t4214)
+  let t4224 := (t4220 + t4215)
+  let t4225 := (t4224 + ((1 : α) * t4206))
+  let t4227 := ((0 : α) * t4204)
+  let t4228 := ((0 : α) * t4213)
+  let t4233 := ((0 : α) * t4210)
+  let t4237 := (t4233 + t4228)
+  let t4240 := ((t4224 + t4214) * (0 : α))
+  let t4246 := ((((t4218 * t336) + (t4222 * t329)) + (t4225 * t319)) + t4240)
+  let t4272 := ((((((((1 : α) * t4210) + t4228) + t4227) * t336) + (((t4233 + ((1 : α) * t4213)) + t4227) * t329)) + ((t4237 + ((1 : α) * t4204)) * t319)) + ((t4237 + t4227) * (0 : α)))
+  ⟨(atan2 ((((t4218 * ((2 : α) * (t317 - t316))) + (t4222 * ((2 : α) * (t313 + t312)))) + (t4225 * ((1 : α) - ((2 : α) * (t307 + t306))))) + t4240) ((((t4218 * ((2 : α) * (t327 + t326))) + (t4222 * ((1 : α) - ((2 : α) * (t322 + t306))))) + (t4225 * ((2 : α) * (t313 - t312)))) + t4240)), (atan2 (sqrt ((t4246 * t4246) + (t4272 * t4272))) ((((((((1 : α) * t70) + t90) + t89) * t336) + (((t95 + ((1 : α) * t71)) + t89) * t329)) + ((t99 + ((1 : α) * t72)) * t319)) + ((t99 + t89) * (0 : α)))), t4196⟩
 
 /-- extracted from the C++ template at T = Sym; 1 path(s) -/
 def Euler.ctorXYZLayout_ZYZr {α : Type} (v : V3 α) : ((V3 α) × Int) :=
@@ -8998,32 +7528,32 @@ def Euler.reorderFromXYZ_ZYZr {α : Type} [Add α] [Sub α] [Mul α] [Neg α] [O
   let t90 := ((0 : α) * t71)
   let t95 := ((0 : α) * t70)
   let t99 := (t95 + t90)
-  let t4339 := (atan2 t17 t19)
-  let t4340 := (-t4339)
-  let t4341 := (cos t4340)
-  let t4342 := (sin t4340)
-  let t4345 := ((t72 * t4341) + (t73 * t4342))
-  let t4347 := (t66 * t4341)
-  let t4348 := (t4347 + (t77 * t4342))
-  let t4349 := (t66 * t4342)
-  let t4351 := (-t4342)
-  let t4353 := ((t72 * t4351) + (t73 * t4341))
-  let t4356 := ((t66 * t4351) + (t77 * t4341))
-  let t4357 := ((0 : α) * t4349)
-  let t4358 := ((0 : α) * t4348)
-  let t4361 := ((((1 : α) * t4345) + t4358) + t4357)
-  let t4363 := ((0 : α) * t4345)
-  let t4365 := ((t4363 + ((1 : α) * t4348)) + t4357)
-  let t4367 := (t4363 + t4358)
-  let t4368 := (t4367 + ((1 : α) * t4349))
-  let t4370 := ((0 : α) * t4347)
-  let t4371 := ((0 : α) * t4356)
-  let t4376 := ((0 : α) * t4353)
-  let t4380 := (t4376 + t4371)
-  let t4383 := ((t4367 + t4357) * (0 : α))
-  let t4389 := ((((t4361 * t15) + (t4365 * t17)) + (t4368 * t19)) + t4383)
-  let t4415 := ((((((((1 : α) * t4353) + t4371) + t4370) * t15) + (((t4376 + ((1 : α) * t4356)) + t4370) * t17)) + ((t4380 + ((1 : α) * t4347)) * t19)) + ((t4380 + t4370) * (0 : α)))
-  (⟨(atan2 ((((t4361 * (-t8)) + (t4365 * (t5 * t7))) + (t4368 * (t5 * t4))) + t4383) ((((t4361 * (t5 * t9)) + (t4365 * ((t8 * t13) + t10))) + (t4368 * ((t8 * t11) - t12))) + t4383)), (atan2 (sqrt ((t4389 * t4389) + (t4415 * t4415))) ((((((((1 : α) * t70) + t90) + t89) * t15) + (((t95 + ((1 : α) * t71)) + t89) * t17)) + ((t99 + ((1 : α) * t72)) * t19)) + ((t99 + t89) * (0 : α)))), t4339⟩, (272 : Int))
+  let t4298 := (atan2 t17 t19)
+  let t4299 := (-t4298)
+  let t4300 := (cos t4299)
+  let t4301 := (sin t4299)
+  let t4304 := ((t72 * t4300) + (t73 * t4301))
+  let t4306 := (t66 * t4300)
+  let t4307 := (t4306 + (t77 * t4301))
+  let t4308 := (t66 * t4301)
+  let t4310 := (-t4301)
+  let t4312 := ((t72 * t4310) + (t73 * t4300))
+  let t4315 := ((t66 * t4310) + (t77 * t4300))
+  let t4316 := ((0 : α) * t4308)
+  let t4317 := ((0 : α) * t4307)
+  let t4320 := ((((1 : α) * t4304) + t4317) + t4316)
+  let t4322 := ((0 : α) * t4304)
+  let t4324 := ((t4322 + ((1 : α) * t4307)) + t4316)
+  let t4326 := (t4322 + t4317)
+  let t4327 := (t4326 + ((1 : α) * t4308))
+  let t4329 := ((0 : α) * t4306)
+  let t4330 := ((0 : α) * t4315)
+  let t4335 := ((0 : α) * t4312)
+  let t4339 := (t4335 + t4330)
+  let t4342 := ((t4326 + t4316) * (0 : α))
+  let t4348 := ((((t4320 * t15) + (t4324 * t17)) + (t4327 * t19)) + t4342)
+  let t4374 := ((((((((1 : α) * t4312) + t4330) + t4329) * t15) + (((t4335 + ((1 : α) * t4315)) + t4329) * t17)) + ((t4339 + ((1 : α) * t4306)) * t19)) + ((t4339 + t4329) * (0 : α)))
+  (⟨(atan2 ((((t4320 * (-t8)) + (t4324 * (t5 * t7))) + (t4327 * (t5 * t4))) + t4342) ((((t4320 * (t5 * t9)) + (t4324 * ((t8 * t13) + t10))) + (t4327 * ((t8 * t11) - t12))) + t4342)), (atan2 (sqrt ((t4348 * t4348) + (t4374 * t4374))) ((((((((1 : α) * t70) + t90) + t89) * t15) + (((t95 + ((1 : α) * t71)) + t89) * t17)) + ((t99 + ((1 : α) * t72)) * t19)) + ((t99 + t89) * (0 : α)))), t4298⟩, (272 : Int))
 
 /-- extracted from the C++ template at T = Sym; 1 path(s) -/
 def Euler.reorderToZYXr_ZYZr {α : Type} [Add α] [Sub α] [Mul α] [Neg α] [OfNat α 0] [OfNat α 1] (sqrt : α → α) (sin : α → α) (cos : α → α) (atan2 : α → α → α) (a : V3 α) : ((V3 α) × Int) :=
@@ -9046,72 +7576,53 @@ def Euler.reorderToZYXr_ZYZr {α : Type} [Add α] [Sub α] [Mul α] [Neg α] [Of
   let t99 := (t95 + t90)
   let t100 := (t99 + ((1 : α) * t72))
   let t128 := ((t99 + t89) * (0 : α))
-  let t4085 := (t8 * t7)
-  let t4087 := (t8 * t9)
-  let t4088 := (-t5)
-  let t7134 := (t6 * t4)
-  let t7135 := (t6 * t7)
-  let t7136 := (t9 * t4)
-  let t7137 := (t9 * t7)
-  let t7793 := (t8 * t6)
-  let t7795 := ((t4088 * t7137) + t7134)
-  let t7797 := ((t4088 * t7135) - t7136)
-  let t7800 := ((t5 * t7136) + t7135)
-  let t7802 := ((t5 * t7134) - t7137)
-  let t8351 := (atan2 t7800 t7802)
-  let t8352 := (-t8351)
-  let t8353 := (cos t8352)
-  let t8354 := (sin t8352)
-  let t8357 := ((t72 * t8353) + ((t66 * t68) * t8354))
-  let t8360 := ((t66 * t8353) + ((t68 * t68) * t8354))
-  let t8361 := (t66 * t8354)
-  let t8369 := ((0 : α) * t8361)
-  let t8370 := ((0 : α) * t8360)
-  let t8373 := ((((1 : α) * t8357) + t8370) + t8369)
-  let t8375 := ((0 : α) * t8357)
-  let t8377 := ((t8375 + ((1 : α) * t8360)) + t8369)
-  let t8379 := (t8375 + t8370)
-  let t8380 := (t8379 + ((1 : α) * t8361))
-  let t8398 := ((((t93 * t5) + (t97 * t4087)) + (t100 * t7793)) + t128)
-  let t8403 := ((((t93 * t4085) + (t97 * t7795)) + (t100 * t7797)) + t128)
-  let t8410 := ((t8379 + t8369) * (0 : α))
-  (⟨(atan2 (-((((t8373 * t5) + (t8377 * t4087)) + (t8380 * t7793)) + t8410)) ((((t8373 * t4085) + (t8377 * t7795)) + (t8380 * t7797)) + t8410)), (atan2 (-((((t93 * ((-t8) * t4)) + (t97 * t7800)) + (t100 * t7802)) + t128)) (sqrt ((t8398 * t8398) + (t8403 * t8403)))), t8351⟩, (256 : Int))
+  let t4044 := (t8 * t7)
+  let t4047 := (-t5)
+  let t7087 := (t6 * t4)
+  let t7088 := (t6 * t7)
+  let t7089 := (t9 * t4)
+  let t7090 := (t9 * t7)
+  let t7744 := ((t5 * t7089) + t7088)
+  let t7746 := ((t5 * t7087) - t7090)
+  let t8338 := ((((t93 * t5) + (t97 * (t8 * t9))) + (t100 * (t8 * t6))) + t128)
+  let t8343 := ((((t93 * t4044) + (t97 * ((t4047 * t7090) + t7087))) + (t100 * ((t4047 * t7088) - t7089))) + t128)
+  (⟨(atan2 t4044 t5), (atan2 (-((((t93 * ((-t8) * t4)) + (t97 * t7744)) + (t100 * t7746)) + t128)) (sqrt ((t8338 * t8338) + (t8343 * t8343)))), (atan2 t7744 t7746)⟩, (256 : Int))
 
 /-- extracted from the C++ template at T = Sym; 1 path(s) -/
 def Euler.toMatrix33_ZXZr {α : Type} [Add α] [Sub α] [Mul α] [Neg α] [OfNat α 1] (sin : α → α) (cos : α → α) (a : V3 α) : (M33 α) :=
-  let t627 := (a.x * (-(1 : α)))
-  let t628 := (a.y * (-(1 : α)))
-  let t629 := (a.z * (-(1 : α)))
-  let t630 := (cos t627)
-  let t631 := (cos t628)
-  let t632 := (cos t629)
-  let t633 := (sin t627)
-  let t634 := (sin t628)
-  let t635 := (sin t629)
-  let t3580 := (-t631)
-  let t6975 := (t632 * t630)
-  let t6976 := (t632 * t633)
-  let t6977 := (t635 * t630)
-  let t6978 := (t635 * t633)
-  ⟨t631, ((-t634) * t630), (t634 * t633), (t634 * t632), ((t631 * t6975) - t6978), ((t3580 * t6976) - t6977), (t634 * t635), ((t631 * t6977) + t6976), ((t3580 * t6978) + t6975)⟩
+  let t622 := (a.x * (-(1 : α)))
+  let t623 := (a.y * (-(1 : α)))
+  let t624 := (a.z * (-(1 : α)))
+  let t625 := (cos t622)
+  let t626 := (cos t623)
+  let t627 := (cos t624)
+  let t628 := (sin t622)
+  let t629 := (sin t623)
+  let t630 := (sin t624)
+  let t3540 := (-t626)
+  let t6929 := (t627 * t625)
+  let t6930 := (t627 * t628)
+  let t6931 := (t630 * t625)
+  let t6932 := (t630 * t628)
+  ⟨t626, ((-t629) * t625), (t629 * t628), (t629 * t627), ((t626 * t6929) - t6932), ((t3540 * t6930) - t6931), (t629 * t630), ((t626 * t6931) + t6930), ((t3540 * t6932) + t6929)⟩
 
 /-- extracted from the C++ template at T = Sym; 1 path(s) -/
 def Euler.toMatrix44_ZXZr {α : Type} [Add α] [Sub α] [Mul α] [Neg α] [OfNat α 0] [OfNat α 1] (sin : α → α) (cos : α → α) (a : V3 α) : (M44 α) :=
-  let t627 := (a.x * (-(1 : α)))
-  let t628 := (a.y * (-(1 : α)))
-  let t629 := (a.z * (-(1 : α)))
-  let t630 := (cos t627)
-  let t631 := (cos t628)
-  let t632 := (cos t629)
-  let t633 := (sin t627)
-  let t634 := (sin t628)
-  let t635 := (sin t629)
-  let t3580 := (-t631)
-  let t6975 := (t632 * t630)
-  let t6976 := (t632 * t633)
-  let t6977 := (t635 * t630)
-  let t6978 := (t635 * t633)
-  ⟨t631, ((-t634) * t630), (t634 * t633), (0 : α), (t634 * t632), ((t631 * t6975) - t6978), ((t3580 * t6976) - t6977), (0 : α), (t634 * t635), ((t631 * t6977) + t6976), ((t3580 * t6978) + t6975), (0 : α), (0 : α), (0 : α), (0 : α), (1 : α)⟩
+  let t622 := (a.x * (-(1 : α)))
+  let t623 := (a.y * (-(1 : α)))
+  let t624 := (a.z * (-(1 : α)))
+  let t625 := (cos t622)
+  let t626 := (cos t623)
+  let t627 := (cos t624)
+  let t628 := (sin t622)
+  let t629 := (sin t623)
+  let t630 := (sin t624)
+  let t3540 := (-t626)
+  let t6929 := (t627 * t625)
+  let t6930 := (t627 * t628)
+  let t6931 := (t630 * t625)
+  let t6932 := (t630 * t628)
+  ⟨t626, ((-t629) * t625), (t629 * t628), (0 : α), (t629 * t627), ((t626 * t6929) - t6932), ((t3540 * t6930) - t6931), (0 : α), (t629 * t630), ((t626 * t6931) + t6930), ((t3540 * t6932) + t6929), (0 : α), (0 : α), (0 : α), (0 : α), (1 : α)⟩
 
 /-- extracted from the C++ template at T = Sym; 1 path(s) -/
 def Euler.toQuat_ZXZr {α : Type} [Add α] [Sub α] [Mul α] [Div α] [Neg α] [OfNat α 1] [OfNat α 2] (sin : α → α) (cos : α → α) (a : V3 α) : (Quat α) :=
@@ -9121,14 +7632,14 @@ def Euler.toQuat_ZXZr {α : Type} [Add α] [Sub α] [Mul α] [Div α] [Neg α] [
   let t34 := (cos t31)
   let t35 := (sin t29)
   let t37 := (sin t31)
-  let t654 := ((-a.y) * ((1 : α) / (2 : α)))
-  let t655 := (cos t654)
-  let t656 := (sin t654)
-  let t6987 := (t34 * t32)
-  let t6988 := (t34 * t35)
-  let t6989 := (t37 * t32)
-  let t6990 := (t37 * t35)
-  ⟨(t655 * (t6987 - t6990)), ⟨(t655 * (t6988 + t6989)), (t656 * (t6988 - t6989)), ((t656 * (t6987 + t6990)) * (-(1 : α)))⟩⟩
+  let t649 := ((-a.y) * ((1 : α) / (2 : α)))
+  let t650 := (cos t649)
+  let t651 := (sin t649)
+  let t6941 := (t34 * t32)
+  let t6942 := (t34 * t35)
+  let t6943 := (t37 * t32)
+  let t6944 := (t37 * t35)
+  ⟨(t650 * (t6941 - t6944)), ⟨(t650 * (t6942 + t6943)), (t651 * (t6942 - t6943)), ((t651 * (t6941 + t6944)) * (-(1 : α)))⟩⟩
 
 /-- extracted from the C++ template at T = Sym; 1 path(s) -/
 def Euler.extractM33_ZXZr {α : Type} [Add α] [Mul α] [Neg α] [OfNat α 0] [OfNat α 1] (sqrt : α → α) (sin : α → α) (cos : α → α) (atan2 : α → α → α) (m : M33 α) : (V3 α) :=
@@ -9143,31 +7654,31 @@ def Euler.extractM33_ZXZr {α : Type} [Add α] [Mul α] [Neg α] [OfNat α 0] [O
   let t90 := ((0 : α) * t71)
   let t95 := ((0 : α) * t70)
   let t99 := (t95 + t90)
-  let t3599 := (atan2 m.x20 m.x10)
-  let t3600 := (cos t3599)
-  let t3601 := (sin t3599)
-  let t3604 := ((t72 * t3600) + (t73 * t3601))
-  let t3606 := (t66 * t3600)
-  let t3607 := (t3606 + (t77 * t3601))
-  let t3608 := (t66 * t3601)
-  let t3610 := (-t3601)
-  let t3612 := ((t72 * t3610) + (t73 * t3600))
-  let t3615 := ((t66 * t3610) + (t77 * t3600))
-  let t3616 := ((0 : α) * t3608)
-  let t3617 := ((0 : α) * t3607)
-  let t3622 := ((0 : α) * t3604)
-  let t3626 := (t3622 + t3617)
-  let t3629 := ((0 : α) * t3606)
-  let t3630 := ((0 : α) * t3615)
-  let t3633 := ((((1 : α) * t3612) + t3630) + t3629)
-  let t3635 := ((0 : α) * t3612)
-  let t3637 := ((t3635 + ((1 : α) * t3615)) + t3629)
-  let t3639 := (t3635 + t3630)
-  let t3640 := (t3639 + ((1 : α) * t3606))
-  let t3648 := ((((((((1 : α) * t3604) + t3617) + t3616) * m.x00) + (((t3622 + ((1 : α) * t3607)) + t3616) * m.x10)) + ((t3626 + ((1 : α) * t3608)) * m.x20)) + ((t3626 + t3616) * (0 : α)))
-  let t3668 := ((t3639 + t3629) * (0 : α))
-  let t3674 := ((((t3633 * m.x00) + (t3637 * m.x10)) + (t3640 * m.x20)) + t3668)
-  ⟨((atan2 ((((t3633 * m.x01) + (t3637 * m.x11)) + (t3640 * m.x21)) + t3668) ((((t3633 * m.x02) + (t3637 * m.x12)) + (t3640 * m.x22)) + t3668)) * (-(1 : α))), ((atan2 (sqrt ((t3674 * t3674) + (t3648 * t3648))) ((((((((1 : α) * t70) + t90) + t89) * m.x00) + (((t95 + ((1 : α) * t71)) + t89) * m.x10)) + ((t99 + ((1 : α) * t72)) * m.x20)) + ((t99 + t89) * (0 : α)))) * (-(1 : α))), (t3599 * (-(1 : α)))⟩
+  let t3559 := (atan2 m.x20 m.x10)
+  let t3560 := (cos t3559)
+  let t3561 := (sin t3559)
+  let t3564 := ((t72 * t3560) + (t73 * t3561))
+  let t3566 := (t66 * t3560)
+  let t3567 := (t3566 + (t77 * t3561))
+  let t3568 := (t66 * t3561)
+  let t3570 := (-t3561)
+  let t3572 := ((t72 * t3570) + (t73 * t3560))
+  let t3575 := ((t66 * t3570) + (t77 * t3560))
+  let t3576 := ((0 : α) * t3568)
+  let t3577 := ((0 : α) * t3567)
+  let t3582 := ((0 : α) * t3564)
+  let t3586 := (t3582 + t3577)
+  let t3589 := ((0 : α) * t3566)
+  let t3590 := ((0 : α) * t3575)
+  let t3593 := ((((1 : α) * t3572) + t3590) + t3589)
+  let t3595 := ((0 : α) * t3572)
+  let t3597 := ((t3595 + ((1 : α) * t3575)) + t3589)
+  let t3599 := (t3595 + t3590)
+  let t3600 := (t3599 + ((1 : α) * t3566))
+  let t3608 := ((((((((1 : α) * t3564) + t3577) + t3576) * m.x00) + (((t3582 + ((1 : α) * t3567)) + t3576) * m.x10)) + ((t3586 + ((1 : α) * t3568)) * m.x20)) + ((t3586 + t3576) * (0 : α)))
+  let t3628 := ((t3599 + t3589) * (0 : α))
+  let t3634 := ((((t3593 * m.x00) + (t3597 * m.x10)) + (t3600 * m.x20)) + t3628)
+  ⟨((atan2 ((((t3593 * m.x01) + (t3597 * m.x11)) + (t3600 * m.x21)) + t3628) ((((t3593 * m.x02) + (t3597 * m.x12)) + (t3600 * m.x22)) + t3628)) * (-(1 : α))), ((atan2 (sqrt ((t3634 * t3634) + (t3608 * t3608))) ((((((((1 : α) * t70) + t90) + t89) * m.x00) + (((t95 + ((1 : α) * t71)) + t89) * m.x10)) + ((t99 + ((1 : α) * t72)) * m.x20)) + ((t99 + t89) * (0 : α)))) * (-(1 : α))), (t3559 * (-(1 : α)))⟩
 
 /-- extracted from the C++ template at T = Sym; 1 path(s) -/
 def Euler.extractM44_ZXZr {α : Type} [Add α] [Mul α] [Neg α] [OfNat α 0] [OfNat α 1] (sqrt : α → α) (sin : α → α) (cos : α → α) (atan2 : α → α → α) (m : M44 α) : (V3 α) :=
@@ -9182,31 +7693,31 @@ def Euler.extractM44_ZXZr {α : Type} [Add α] [Mul α] [Neg α] [OfNat α 0] [O
   let t90 := ((0 : α) * t71)
   let t95 := ((0 : α) * t70)
   let t99 := (t95 + t90)
-  let t3599 := (atan2 m.x20 m.x10)
-  let t3600 := (cos t3599)
-  let t3601 := (sin t3599)
-  let t3604 := ((t72 * t3600) + (t73 * t3601))
-  let t3606 := (t66 * t3600)
-  let t3607 := (t3606 + (t77 * t3601))
-  let t3608 := (t66 * t3601)
-  let t3610 := (-t3601)
-  let t3612 := ((t72 * t3610) + (t73 * t3600))
-  let t3615 := ((t66 * t3610) + (t77 * t3600))
-  let t3616 := ((0 : α) * t3608)
-  let t3617 := ((0 : α) * t3607)
-  let t3622 := ((0 : α) * t3604)
-  let t3626 := (t3622 + t3617)
-  let t3629 := ((0 : α) * t3606)
-  let t3630 := ((0 : α) * t3615)
-  let t3633 := ((((1 : α) * t3612) + t3630) + t3629)
-  let t3635 := ((0 : α) * t3612)
-  let t3637 := ((t3635 + ((1 : α) * t3615)) + t3629)
-  let t3639 := (t3635 + t3630)
-  let t3640 := (t3639 + ((1 : α) * t3606))
-  let t3641 := (t3639 + t3629)
-  let t3704 := ((((((((1 : α) * t3604) + t3617) + t3616) * m.x00) + (((t3622 + ((1 : α) * t3607)) + t3616) * m.x10)) + ((t3626 + ((1 : α) * t3608)) * m.x20)) + ((t3626 + t3616) * m.x30))
-  let t3717 := ((((t3633 * m.x00) + (t3637 * m.x10)) + (t3640 * m.x20)) + (t3641 * m.x30))
-  ⟨((atan2 ((((t3633 * m.x01) + (t3637 * m.x11)) + (t3640 * m.x21)) + (t3641 * m.x31)) ((((t3633 * m.x02) + (t3637 * m.x12)) + (t3640 * m.x22)) + (t3641 * m.x32))) * (-(1 : α))), ((atan2 (sqrt ((t3717 * t3717) + (t3704 * t3704))) ((((((((1 : α) * t70) + t90) + t89) * m.x00) + (((t95 + ((1 : α) * t71)) + t89) * m.x10)) + ((t99 + ((1 : α) * t72)) * m.x20)) + ((t99 + t89) * m.x30))) * (-(1 : α))), (t3599 * (-(1 : α)))⟩
+  let t3559 := (atan2 m.x20 m.x10)
+  let t3560 := (cos t3559)
+  let t3561 := (sin t3559)
+  let t3564 := ((t72 * t3560) + (t73 * t3561))
+  let t3566 := (t66 * t3560)
+  let t3567 := (t3566 + (t77 * t3561))
+  let t3568 := (t66 * t3561)
+  let t3570 := (-t3561)
+  let t3572 := ((t72 * t3570) + (t73 * t3560))
+  let t3575 := ((t66 * t3570) + (t77 * t3560))
+  let t3576 := ((0 : α) * t3568)
+  let t3577 := ((0 : α) * t3567)
+  let t3582 := ((0 : α) * t3564)
+  let t3586 := (t3582 + t3577)
+  let t3589 := ((0 : α) * t3566)
+  let t3590 := ((0 : α) * t3575)
+  let t3593 := ((((1 : α) * t3572) + t3590) + t3589)
+  let t3595 := ((0 : α) * t3572)
+  let t3597 := ((t3595 + ((1 : α) * t3575)) + t3589)
+  let t3599 := (t3595 + t3590)
+  let t3600 := (t3599 + ((1 : α) * t3566))
+  let t3601 := (t3599 + t3589)
+  let t3664 := ((((((((1 : α) * t3564) + t3577) + t3576) * m.x00) + (((t3582 + ((1 : α) * t3567)) + t3576) * m.x10)) + ((t3586 + ((1 : α) * t3568)) * m.x20)) + ((t3586 + t3576) * m.x30))
+  let t3677 := ((((t3593 * m.x00) + (t3597 * m.x10)) + (t3600 * m.x20)) + (t3601 * m.x30))
+  ⟨((atan2 ((((t3593 * m.x01) + (t3597 * m.x11)) + (t3600 * m.x21)) + (t3601 * m.x31)) ((((t3593 * m.x02) + (t3597 * m.x12)) + (t3600 * m.x22)) + (t3601 * m.x32))) * (-(1 : α))), ((atan2 (sqrt ((t3677 * t3677) + (t3664 * t3664))) ((((((((1 : α) * t70) + t90) + t89) * m.x00) + (((t95 + ((1 : α) * t71)) + t89) * m.x10)) + ((t99 + ((1 : α) * t72)) * m.x20)) + ((t99 + t89) * m.x30))) * (-(1 : α))), (t3559 * (-(1 : α)))⟩
 
 /-- extracted from the C++ template at T = Sym; 1 path(s) -/
 def Euler.ctorM33_ZXZr {α : Type} [Add α] [Mul α] [Neg α] [OfNat α 0] [OfNat α 1] (sqrt : α → α) (sin : α → α) (cos : α → α) (atan2 : α → α → α) (m : M33 α) : ((V3 α) × Int) :=
@@ -9221,31 +7732,31 @@ def Euler.ctorM33_ZXZr {α : Type} [Add α] [Mul α] [Neg α] [OfNat α 0] [OfNa
   let t90 := ((0 : α) * t71)
   let t95 := ((0 : α) * t70)
   let t99 := (t95 + t90)
-  let t3599 := (atan2 m.x20 m.x10)
-  let t3600 := (cos t3599)
-  let t3601 := (sin t3599)
-  let t3604 := ((t72 * t3600) + (t73 * t3601))
-  let t3606 := (t66 * t3600)
-  let t3607 := (t3606 + (t77 * t3601))
-  let t3608 := (t66 * t3601)
-  let t3610 := (-t3601)
-  let t3612 := ((t72 * t3610) + (t73 * t3600))
-  let t3615 := ((t66 * t3610) + (t77 * t3600))
-  let t3616 := ((0 : α) * t3608)
-  let t3617 := ((0 : α) * t3607)
-  let t3622 := ((0 : α) * t3604)
-  let t3626 := (t3622 + t3617)
-  let t3629 := ((0 : α) * t3606)
-  let t3630 := ((0 : α) * t3615)
-  let t3633 := ((((1 : α) * t3612) + t3630) + t3629)
-  let t3635 := ((0 : α) * t3612)
-  let t3637 := ((t3635 + ((1 : α) * t3615)) + t3629)
-  let t3639 := (t3635 + t3630)
-  let t3640 := (t3639 + ((1 : α) * t3606))
-  let t3648 := ((((((((1 : α) * t3604) + t3617) + t3616) * m.x00) + (((t3622 + ((1 : α) * t3607)) + t3616) * m.x10)) + ((t3626 + ((1 : α) * t3608)) * m.x20)) + ((t3626 + t3616) * (0 : α)))
-  let t3668 := ((t3639 + t3629) * (0 : α))
-  let t3674 := ((((t3633 * m.x00) + (t3637 * m.x10)) + (t3640 * m.x20)) + t3668)
-  (⟨((atan2 ((((t3633 * m.x01) + (t3637 * m.x11)) + (t3640 * m.x21)) + t3668) ((((t3633 * m.x02) + (t3637 * m.x12)) + (t3640 * m.x22)) + t3668)) * (-(1 : α))), ((atan2 (sqrt ((t3674 * t3674) + (t3648 * t3648))) ((((((((1 : α) * t70) + t90) + t89) * m.x00) + (((t95 + ((1 : α) * t71)) + t89) * m.x10)) + ((t99 + ((1 : α) * t72)) * m.x20)) + ((t99 + t89) * (0 : α)))) * (-(1 : α))), (t3599 * (-(1 : α)))⟩, (16 : Int))
+  let t3559 := (atan2 m.x20 m.x10)
+  let t3560 := (cos t3559)
+  let t3561 := (sin t3559)
+  let t3564 := ((t72 * t3560) + (t73 * t3561))
+  let t3566 := (t66 * t3560)
+  let t3567 := (t3566 + (t77 * t3561))
+  let t3568 := (t66 * t3561)
+  let t3570 := (-t3561)
+  let t3572 := ((t72 * t3570) + (t73 * t3560))
+  let t3575 := ((t66 * t3570) + (t77 * t3560))
+  let t3576 := ((0 : α) * t3568)
+  let t3577 := ((0 : α) * t3567)
+  let t3582 := ((0 : α) * t3564)
+  let t3586 := (t3582 + t3577)
+  let t3589 := ((0 : α) * t3566)
+  let t3590 := ((0 : α) * t3575)
+  let t3593 := ((((1 : α) * t3572) + t3590) + t3589)
+  let t3595 := ((0 : α) * t3572)
+  let t3597 := ((t3595 + ((1 : α) * t3575)) + t3589)
+  let t3599 := (t3595 + t3590)
+  let t3600 := (t3599 + ((1 : α) * t3566))
+  let t3608 := ((((((((1 : α) * t3564) + t3577) + t3576) * m.x00) + (((t3582 + ((1 : α) * t3567)) + t3576) * m.x10)) + ((t3586 + ((1 : α) * t3568)) * m.x20)) + ((t3586 + t3576) * (0 : α)))
+  let t3628 := ((t3599 + t3589) * (0 : α))
+  let t3634 := ((((t3593 * m.x00) + (t3597 * m.x10)) + (t3600 * m.x20)) + t3628)
+  (⟨((atan2 ((((t3593 * m.x01) + (t3597 * m.x11)) + (t3600 * m.x21)) + t3628) ((((t3593 * m.x02) + (t3597 * m.x12)) + (t3600 * m.x22)) + t3628)) * (-(1 : α))), ((atan2 (sqrt ((t3634 * t3634) + (t3608 * t3608))) ((((((((1 : α) * t70) + t90) + t89) * m.x00) + (((t95 + ((1 : α) * t71)) + t89) * m.x10)) + ((t99 + ((1 : α) * t72)) * m.x20)) + ((t99 + t89) * (0 : α)))) * (-(1 : α))), (t3559 * (-(1 : α)))⟩, (16 : Int))
 
 /-- extracted from the C++ template at T = Sym; 1 path(s) -/
 def Euler.ctorM44_ZXZr {α : Type} [Add α] [Mul α] [Neg α] [OfNat α 0] [OfNat α 1] (sqrt : α → α) (sin : α → α) (cos : α → α) (atan2 : α → α → α) (m : M44 α) : ((V3 α) × Int) :=
@@ -9260,31 +7771,31 @@ def Euler.ctorM44_ZXZr {α : Type} [Add α] [Mul α] [Neg α] [OfNat α 0] [OfNa
   let t90 := ((0 : α) * t71)
   let t95 := ((0 : α) * t70)
   let t99 := (t95 + t90)
-  let t3599 := (atan2 m.x20 m.x10)
-  let t3600 := (cos t3599)
-  let t3601 := (sin t3599)
-  let t3604 := ((t72 * t3600) + (t73 * t3601))
-  let t3606 := (t66 * t3600)
-  let t3607 := (t3606 + (t77 * t3601))
-  let t3608 := (t66 * t3601)
-  let t3610 := (-t3601)
-  let t3612 := ((t72 * t3610) + (t73 * t3600))
-  let t3615 := ((t66 * t3610) + (t77 * t3600))
-  let t3616 := ((0 : α) * t3608)
-  let t3617 := ((0 : α) * t3607)
-  let t3622 := ((0 : α) * t3604)
-  let t3626 := (t3622 + t3617)
-  let t3629 := ((0 : α) * t3606)
-  let t3630 := ((0 : α) * t3615)
-  let t3633 := ((((1 : α) * t3612) + t3630) + t3629)
-  let t3635 := ((0 : α) * t3612)
-  let t3637 := ((t3635 + ((1 : α) * t3615)) + t3629)
-  let t3639 := (t3635 + t3630)
-  let t3640 := (t3639 + ((1 : α) * t3606))
-  let t3641 := (t3639 + t3629)
-  let t3704 := ((((((((1 : α) * t3604) + t3617) + t3616) * m.x00) + (((t3622 + ((1 : α) * t3607)) + t3616) * m.x10)) + ((t3626 + ((1 : α) * t3608)) * m.x20)) + ((t3626 + t3616) * m.x30))
-  let t3717 := ((((t3633 * m.x00) + (t3637 * m.x10)) + (t3640 * m.x20)) + (t3641 * m.x30))
-  (⟨((atan2 ((((t3633 * m.x01) + (t3637 * m.x11)) + (t3640 * m.x21)) + (t3641 * m.x31)) ((((t3633 * m.x02) + (t3637 * m.x12)) + (t3640 * m.x22)) + (t3641 * m.x32))) * (-(1 : α))), ((atan2 (sqrt ((t3717 * t3717) + (t3704 * t3704))) ((((((((1 : α) * t70) + t90) + t89) * m.x00) + (((t95 + ((1 : α) * t71)) + t89) * m.x10)) + ((t99 + ((1 : α) * t72)) * m.x20)) + ((t99 + t89) * m.x30))) * (-(1 : α))), (t3599 * (-(1 : α)))⟩, (16 : Int))
+  let t3559 := (atan2 m.x20 m.x10)
+  let t3560 := (cos t3559)
+  let t3561 := (sin t3559)
+  let t3564 := ((t72 * t3560) + (t73 * t3561))
+  let t3566 := (t66 * t3560)
+  let t3567 := (t3566 + (t77 * t3561))
+  let t3568 := (t66 * t3561)
+  let t3570 := (-t3561)
+  let t3572 := ((t72 * t3570) + (t73 * t3560))
+  let t3575 := ((t66 * t3570) + (t77 * t3560))
+  let t3576 := ((0 : α) * t3568)
+  let t3577 := ((0 : α) * t3567)
+  let t3582 := ((0 : α) * t3564)
+  let t3586 := (t3582 + t3577)
+  let t3589 := ((0 : α) * t3566)
+  let t3590 := ((0 : α) * t3575)
+  let t3593 := ((((1 : α) * t3572) + t3590) + t3589)
+  let t3595 := ((0 : α) * t3572)
+  let t3597 := ((t3595 + ((1 : α) * t3575)) + t3589)
+  let t3599 := (t3595 + t3590)
+  let t3600 := (t3599 + ((1 : α) * t3566))
+  let t3601 := (t3599 + t3589)
+  let t3664 := ((((((((1 : α) * t3564) + t3577) + t3576) * m.x00) + (((t3582 + ((1 : α) * t3567)) + t3576) * m.x10)) + ((t3586 + ((1 : α) * t3568)) * m.x20)) + ((t3586 + t3576) * m.x30))
+  let t3677 := ((((t3593 * m.x00) + (t3597 * m.x10)) + (t3600 * m.x20)) + (t3601 * m.x30))
+  (⟨((atan2 ((((t3593 * m.x01) + (t3597 * m.x11)) + (t3600 * m.x21)) + (t3601 * m.x31)) ((((t3593 * m.x02) + (t3597 * m.x12)) + (t3600 * m.x22)) + (t3601 * m.x32))) * (-(1 : α))), ((atan2 (sqrt ((t3677 * t3677) + (t3664 * t3664))) ((((((((1 : α) * t70) + t90) + t89) * m.x00) + (((t95 + ((1 : α) * t71)) + t89) * m.x10)) + ((t99 + ((1 : α) * t72)) * m.x20)) + ((t99 + t89) * m.x30))) * (-(1 : α))), (t3559 * (-(1 : α)))⟩, (16 : Int))
 
 /-- extracted from the C++ template at T = Sym; 1 path(s) -/
 def Euler.extractQuat_ZXZr {α : Type} [Add α] [Sub α] [Mul α] [Neg α] [OfNat α 0] [OfNat α 1] [OfNat α 2] (sqrt : α → α) (sin : α → α) (cos : α → α) (atan2 : α → α → α) (q : Quat α) : (V3 α) :=
@@ -9299,43 +7810,43 @@ def Euler.extractQuat_ZXZr {α : Type} [Add α] [Sub α] [Mul α] [Neg α] [OfNa
   let t90 := ((0 : α) * t71)
   let t95 := ((0 : α) * t70)
   let t99 := (t95 + t90)
-  let t309 := (q.v.x * q.v.x)
-  let t310 := (q.v.y * q.v.y)
-  let t315 := (q.v.x * q.r)
-  let t316 := (q.v.y * q.v.z)
-  let t319 := (q.v.y * q.r)
-  let t320 := (q.v.z * q.v.x)
-  let t322 := ((2 : α) * (t320 + t319))
-  let t325 := (q.v.z * q.v.z)
-  let t329 := (q.v.z * q.r)
-  let t330 := (q.v.x * q.v.y)
-  let t332 := ((2 : α) * (t330 - t329))
-  let t339 := ((1 : α) - ((2 : α) * (t310 + t325)))
-  let t3737 := (atan2 t322 t332)
-  let t3738 := (cos t3737)
-  let t3739 := (sin t3737)
-  let t3742 := ((t72 * t3738) + (t73 * t3739))
-  let t3744 := (t66 * t3738)
-  let t3745 := (t3744 + (t77 * t3739))
-  let t3746 := (t66 * t3739)
-  let t3748 := (-t3739)
-  let t3750 := ((t72 * t3748) + (t73 * t3738))
-  let t3753 := ((t66 * t3748) + (t77 * t3738))
-  let t3754 := ((0 : α) * t3746)
-  let t3755 := ((0 : α) * t3745)
-  let t3760 := ((0 : α) * t3742)
-  let t3764 := (t3760 + t3755)
-  let t3767 := ((0 : α) * t3744)
-  let t3768 := ((0 : α) * t3753)
-  let t3771 := ((((1 : α) * t3750) + t3768) + t3767)
-  let t3773 := ((0 : α) * t3750)
-  let t3775 := ((t3773 + ((1 : α) * t3753)) + t3767)
-  let t3777 := (t3773 + t3768)
-  let t3778 := (t3777 + ((1 : α) * t3744))
-  let t3786 := ((((((((1 : α) * t3742) + t3755) + t3754) * t339) + (((t3760 + ((1 : α) * t3745)) + t3754) * t332)) + ((t3764 + ((1 : α) * t3746)) * t322)) + ((t3764 + t3754) * (0 : α)))
-  let t3806 := ((t3777 + t3767) * (0 : α))
-  let t3812 := ((((t3771 * t339) + (t3775 * t332)) + (t3778 * t322)) + t3806)
-  ⟨((atan2 ((((t3771 * ((2 : α) * (t330 + t329))) + (t3775 * ((1 : α) - ((2 : α) * (t325 + t309))))) + (t3778 * ((2 : α) * (t316 - t315)))) + t3806) ((((t3771 * ((2 : α) * (t320 - t319))) + (t3775 * ((2 : α) * (t316 + t315)))) + (t3778 * ((1 : α) - ((2 : α) * (t310 + t309))))) + t3806)) * (-(1 : α))), ((atan2 (sqrt ((t3812 * t3812) + (t3786 * t3786))) ((((((((1 : α) * t70) + t90) + t89) * t339) + (((t95 + ((1 : α) * t71)) + t89) * t332)) + ((t99 + ((1 : α) * t72)) * t322)) + ((t99 + t89) * (0 : α)))) * (-(1 : α))), (t3737 * (-(1 : α)))⟩
+  let t306 := (q.v.x * q.v.x)
+  let t307 := (q.v.y * q.v.y)
+  let t312 := (q.v.x * q.r)
+  let t313 := (q.v.y * q.v.z)
+  let t316 := (q.v.y * q.r)
+  let t317 := (q.v.z * q.v.x)
+  let t319 := ((2 : α) * (t317 + t316))
+  let t322 := (q.v.z * q.v.z)
+  let t326 := (q.v.z * q.r)
+  let t327 := (q.v.x * q.v.y)
+  let t329 := ((2 : α) * (t327 - t326))
+  let t336 := ((1 : α) - ((2 : α) * (t307 + t322)))
+  let t3697 := (atan2 t319 t329)
+  let t3698 := (cos t3697)
+  let t3699 := (sin t3697)
+  let t3702 := ((t72 * t3698) + (t73 * t3699))
+  let t3704 := (t66 * t3698)
+  let t3705 := (t3704 + (t77 * t3699))
+  let t3706 := (t66 * t3699)
+  let t3708 := (-t3699)
+  let t3710 := ((t72 * t3708) + (t73 * t3698))
+  let t3713 := ((t66 * t3708) + (t77 * t3698))
+  let t3714 := ((0 : α) * t3706)
+  let t3715 := ((0 : α) * t3705)
+  let t3720 := ((0 : α) * t3702)
+  let t3724 := (t3720 + t3715)
+  let t3727 := ((0 : α) * t3704)
+  let t3728 := ((0 : α) * t3713)
+  let t3731 := ((((1 : α) * t3710) + t3728) + t3727)
+  let t3733 := ((0 : α) * t3710)
+  let t3735 := ((t3733 + ((1 : α) * t3713)) + t3727)
+  let t3737 := (t3733 + t3728)
+  let t3738 := (t3737 + ((1 : α) * t3704))
+  let t3746 := ((((((((1 : α) * t3702) + t3715) + t3714) * t336) + (((t3720 + ((1 : α) * t3705)) + t3714) * t329)) + ((t3724 + ((1 : α) * t3706)) * t319)) + ((t3724 + t3714) * (0 : α)))
+  let t3766 := ((t3737 + t3727) * (0 : α))
+  let t3772 := ((((t3731 * t336) + (t3735 * t329)) + (t3738 * t319)) + t3766)
+  ⟨((atan2 ((((t3731 * ((2 : α) * (t327 + t326))) + (t3735 * ((1 : α) - ((2 : α) * (t322 + t306))))) + (t3738 * ((2 : α) * (t313 - t312)))) + t3766) ((((t3731 * ((2 : α) * (t317 - t316))) + (t3735 * ((2 : α) * (t313 + t312)))) + (t3738 * ((1 : α) - ((2 : α) * (t307 + t306))))) + t3766)) * (-(1 : α))), ((atan2 (sqrt ((t3772 * t3772) + (t3746 * t3746))) ((((((((1 : α) * t70) + t90) + t89) * t336) + (((t95 + ((1 : α) * t71)) + t89) * t329)) + ((t99 + ((1 : α) * t72)) * t319)) + ((t99 + t89) * (0 : α)))) * (-(1 : α))), (t3697 * (-(1 : α)))⟩
 
 /-- extracted from the C++ template at T = Sym; 1 path(s) -/
 def Euler.ctorXYZLayout_ZXZr {α : Type} (v : V3 α) : ((V3 α) × Int) :=
@@ -9403,31 +7914,31 @@ def Euler.reorderFromXYZ_ZXZr {α : Type} [Add α] [Sub α] [Mul α] [Neg α] [O
   let t90 := ((0 : α) * t71)
   let t95 := ((0 : α) * t70)
   let t99 := (t95 + t90)
-  let t3841 := (atan2 t19 t17)
-  let t3842 := (cos t3841)
-  let t3843 := (sin t3841)
-  let t3846 := ((t72 * t3842) + (t73 * t3843))
-  let t3848 := (t66 * t3842)
-  let t3849 := (t3848 + (t77 * t3843))
-  let t3850 := (t66 * t3843)
-  let t3852 := (-t3843)
-  let t3854 := ((t72 * t3852) + (t73 * t3842))
-  let t3857 := ((t66 * t3852) + (t77 * t3842))
-  let t3858 := ((0 : α) * t3850)
-  let t3859 := ((0 : α) * t3849)
-  let t3864 := ((0 : α) * t3846)
-  let t3868 := (t3864 + t3859)
-  let t3871 := ((0 : α) * t3848)
-  let t3872 := ((0 : α) * t3857)
-  let t3875 := ((((1 : α) * t3854) + t3872) + t3871)
-  let t3877 := ((0 : α) * t3854)
-  let t3879 := ((t3877 + ((1 : α) * t3857)) + t3871)
-  let t3881 := (t3877 + t3872)
-  let t3882 := (t3881 + ((1 : α) * t3848))
-  let t3890 := ((((((((1 : α) * t3846) + t3859) + t3858) * t15) + (((t3864 + ((1 : α) * t3849)) + t3858) * t17)) + ((t3868 + ((1 : α) * t3850)) * t19)) + ((t3868 + t3858) * (0 : α)))
-  let t3910 := ((t3881 + t3871) * (0 : α))
-  let t3916 := ((((t3875 * t15) + (t3879 * t17)) + (t3882 * t19)) + t3910)
-  (⟨((atan2 ((((t3875 * (t5 * t9)) + (t3879 * ((t8 * t13) + t10))) + (t3882 * ((t8 * t11) - t12))) + t3910) ((((t3875 * (-t8)) + (t3879 * (t5 * t7))) + (t3882 * (t5 * t4))) + t3910)) * (-(1 : α))), ((atan2 (sqrt ((t3916 * t3916) + (t3890 * t3890))) ((((((((1 : α) * t70) + t90) + t89) * t15) + (((t95 + ((1 : α) * t71)) + t89) * t17)) + ((t99 + ((1 : α) * t72)) * t19)) + ((t99 + t89) * (0 : α)))) * (-(1 : α))), (t3841 * (-(1 : α)))⟩, (16 : Int))
+  let t3801 := (atan2 t19 t17)
+  let t3802 := (cos t3801)
+  let t3803 := (sin t3801)
+  let t3806 := ((t72 * t3802) + (t73 * t3803))
+  let t3808 := (t66 * t3802)
+  let t3809 := (t3808 + (t77 * t3803))
+  let t3810 := (t66 * t3803)
+  let t3812 := (-t3803)
+  let t3814 := ((t72 * t3812) + (t73 * t3802))
+  let t3817 := ((t66 * t3812) + (t77 * t3802))
+  let t3818 := ((0 : α) * t3810)
+  let t3819 := ((0 : α) * t3809)
+  let t3824 := ((0 : α) * t3806)
+  let t3828 := (t3824 + t3819)
+  let t3831 := ((0 : α) * t3808)
+  let t3832 := ((0 : α) * t3817)
+  let t3835 := ((((1 : α) * t3814) + t3832) + t3831)
+  let t3837 := ((0 : α) * t3814)
+  let t3839 := ((t3837 + ((1 : α) * t3817)) + t3831)
+  let t3841 := (t3837 + t3832)
+  let t3842 := (t3841 + ((1 : α) * t3808))
+  let t3850 := ((((((((1 : α) * t3806) + t3819) + t3818) * t15) + (((t3824 + ((1 : α) * t3809)) + t3818) * t17)) + ((t3828 + ((1 : α) * t3810)) * t19)) + ((t3828 + t3818) * (0 : α)))
+  let t3870 := ((t3841 + t3831) * (0 : α))
+  let t3876 := ((((t3835 * t15) + (t3839 * t17)) + (t3842 * t19)) + t3870)
+  (⟨((atan2 ((((t3835 * (t5 * t9)) + (t3839 * ((t8 * t13) + t10))) + (t3842 * ((t8 * t11) - t12))) + t3870) ((((t3835 * (-t8)) + (t3839 * (t5 * t7))) + (t3842 * (t5 * t4))) + t3870)) * (-(1 : α))), ((atan2 (sqrt ((t3876 * t3876) + (t3850 * t3850))) ((((((((1 : α) * t70) + t90) + t89) * t15) + (((t95 + ((1 : α) * t71)) + t89) * t17)) + ((t99 + ((1 : α) * t72)) * t19)) + ((t99 + t89) * (0 : α)))) * (-(1 : α))), (t3801 * (-(1 : α)))⟩, (16 : Int))
 
 /-- extracted from the C++ template at T = Sym; 1 path(s) -/
 def Euler.reorderToZYXr_ZXZr {α : Type} [Add α] [Sub α] [Mul α] [Neg α] [OfNat α 0] [OfNat α 1] (sqrt : α → α) (sin : α → α) (cos : α → α) (atan2 : α → α → α) (a : V3 α) : ((V3 α) × Int) :=
@@ -9444,44 +7955,25 @@ def Euler.reorderToZYXr_ZXZr {α : Type} [Add α] [Sub α] [Mul α] [Neg α] [Of
   let t99 := (t95 + t90)
   let t100 := (t99 + ((1 : α) * t72))
   let t128 := ((t99 + t89) * (0 : α))
-  let t627 := (a.x * (-(1 : α)))
-  let t628 := (a.y * (-(1 : α)))
-  let t629 := (a.z * (-(1 : α)))
-  let t630 := (cos t627)
-  let t631 := (cos t628)
-  let t632 := (cos t629)
-  let t633 := (sin t627)
-  let t634 := (sin t628)
-  let t635 := (sin t629)
-  let t3579 := (t634 * t635)
-  let t3580 := (-t631)
-  let t6975 := (t632 * t630)
-  let t6976 := (t632 * t633)
-  let t6977 := (t635 * t630)
-  let t6978 := (t635 * t633)
-  let t7946 := (t634 * t632)
-  let t7948 := ((t3580 * t6978) + t6975)
-  let t7950 := ((t3580 * t6976) - t6977)
-  let t7951 := ((-t634) * t630)
-  let t7953 := ((t631 * t6977) + t6976)
-  let t7955 := ((t631 * t6975) - t6978)
-  let t8479 := (atan2 t7950 t7948)
-  let t8480 := (-t8479)
-  let t8481 := (cos t8480)
-  let t8482 := (sin t8480)
-  let t8485 := ((t72 * t8481) + ((t66 * t68) * t8482))
-  let t8488 := ((t66 * t8481) + ((t68 * t68) * t8482))
-  let t8489 := (t66 * t8482)
-  let t8497 := ((0 : α) * t8489)
-  let t8498 := ((0 : α) * t8488)
-  let t8501 := ((((1 : α) * t8485) + t8498) + t8497)
-  let t8503 := ((0 : α) * t8485)
-  let t8505 := ((t8503 + ((1 : α) * t8488)) + t8497)
-  let t8507 := (t8503 + t8498)
-  let t8508 := (t8507 + ((1 : α) * t8489))
-  let t8526 := ((((t93 * t631) + (t97 * t7946)) + (t100 * t3579)) + t128)
-  let t8532 := ((((t93 * t7951) + (t97 * t7955)) + (t100 * t7953)) + t128)
-  let t8538 := ((t8507 + t8497) * (0 : α))
-  (⟨(atan2 (-((((t8501 * t631) + (t8505 * t7946)) + (t8508 * t3579)) + t8538)) ((((t8501 * t7951) + (t8505 * t7955)) + (t8508 * t7953)) + t8538)), (atan2 (-((((t93 * (t634 * t633)) + (t97 * t7950)) + (t100 * t7948)) + t128)) (sqrt ((t8526 * t8526) + (t8532 * t8532)))), t8479⟩, (256 : Int))
+  let t622 := (a.x * (-(1 : α)))
+  let t623 := (a.y * (-(1 : α)))
+  let t624 := (a.z * (-(1 : α)))
+  let t625 := (cos t622)
+  let t626 := (cos t623)
+  let t627 := (cos t624)
+  let t628 := (sin t622)
+  let t629 := (sin t623)
+  let t630 := (sin t624)
+  let t3540 := (-t626)
+  let t6929 := (t627 * t625)
+  let t6930 := (t627 * t628)
+  let t6931 := (t630 * t625)
+  let t6932 := (t630 * t628)
+  let t7891 := ((t3540 * t6932) + t6929)
+  let t7893 := ((t3540 * t6930) - t6931)
+  let t7894 := ((-t629) * t625)
+  let t8465 := ((((t93 * t626) + (t97 * (t629 * t627))) + (t100 * (t629 * t630))) + t128)
+  let t8471 := ((((t93 * t7894) + (t97 * ((t626 * t6929) - t6932))) + (t100 * ((t626 * t6931) + t6930))) + t128)
+  (⟨(atan2 t7894 t626), (atan2 (-((((t93 * (t629 * t628)) + (t97 * t7893)) + (t100 * t7891)) + t128)) (sqrt ((t8465 * t8465) + (t8471 * t8471)))), (atan2 t7893 t7891)⟩, (256 : Int))
 
 end ImathVerif.Gen
